@@ -9,6 +9,12 @@ type nat =
 | O
 | S of nat
 
+(** val option_map : ('a1 -> 'a2) -> 'a1 option -> 'a2 option **)
+
+let option_map f = function
+| Some a -> Some (f a)
+| None -> None
+
 (** val fst : ('a1 * 'a2) -> 'a1 **)
 
 let fst = function
@@ -112,7 +118,7 @@ let rec nth n l default =
           | x :: _ -> x)
   | S m -> (match l with
             | [] -> default
-            | _ :: t -> nth m t default)
+            | _ :: t0 -> nth m t0 default)
 
 (** val nth_error : 'a1 list -> nat -> 'a1 option **)
 
@@ -157,20 +163,26 @@ let rec concat = function
 
 let rec map f = function
 | [] -> []
-| a :: t -> (f a) :: (map f t)
+| a :: t0 -> (f a) :: (map f t0)
+
+(** val flat_map : ('a1 -> 'a2 list) -> 'a1 list -> 'a2 list **)
+
+let rec flat_map f = function
+| [] -> []
+| x :: t0 -> app (f x) (flat_map f t0)
 
 (** val fold_left : ('a1 -> 'a2 -> 'a1) -> 'a2 list -> 'a1 -> 'a1 **)
 
 let rec fold_left f l a0 =
   match l with
   | [] -> a0
-  | b :: t -> fold_left f t (f a0 b)
+  | b :: t0 -> fold_left f t0 (f a0 b)
 
 (** val fold_right : ('a2 -> 'a1 -> 'a1) -> 'a1 -> 'a2 list -> 'a1 **)
 
 let rec fold_right f a0 = function
 | [] -> a0
-| b :: t -> f b (fold_right f a0 t)
+| b :: t0 -> f b (fold_right f a0 t0)
 
 (** val existsb : ('a1 -> bool) -> 'a1 list -> bool **)
 
@@ -190,6 +202,16 @@ let rec filter f = function
 | [] -> []
 | x :: l0 -> if f x then x :: (filter f l0) else filter f l0
 
+(** val combine : 'a1 list -> 'a2 list -> ('a1 * 'a2) list **)
+
+let rec combine l l' =
+  match l with
+  | [] -> []
+  | x :: tl0 ->
+    (match l' with
+     | [] -> []
+     | y :: tl' -> (x, y) :: (combine tl0 tl'))
+
 (** val firstn : nat -> 'a1 list -> 'a1 list **)
 
 let rec firstn n l =
@@ -207,6 +229,12 @@ let rec skipn n l =
   | S n0 -> (match l with
              | [] -> []
              | _ :: l0 -> skipn n0 l0)
+
+(** val seq : nat -> nat -> nat list **)
+
+let rec seq start = function
+| O -> []
+| S len0 -> start :: (seq (S start) len0)
 
 (** val repeat : 'a1 -> nat -> 'a1 list **)
 
@@ -600,19 +628,19 @@ let bind r f =
 let rec get l n =
   match l with
   | [] -> Err OutOfRange
-  | x :: t -> (match n with
-               | O -> Ok x
-               | S n0 -> get t n0)
+  | x :: t0 -> (match n with
+                | O -> Ok x
+                | S n0 -> get t0 n0)
 
 (** val set_nth : 'a1 list -> nat -> 'a1 -> 'a1 list res **)
 
 let rec set_nth l n v =
   match l with
   | [] -> Err OutOfRange
-  | x :: t ->
+  | x :: t0 ->
     (match n with
-     | O -> Ok (v :: t)
-     | S n0 -> bind (set_nth t n0 v) (fun t' -> Ok (x :: t')))
+     | O -> Ok (v :: t0)
+     | S n0 -> bind (set_nth t0 n0 v) (fun t' -> Ok (x :: t')))
 
 type str = z list
 
@@ -643,7 +671,7 @@ let nonemptyb = function
 
 let rec drop_while p l = match l with
 | [] -> []
-| x :: t -> if p x then drop_while p t else l
+| x :: t0 -> if p x then drop_while p t0 else l
 
 (** val concat_map_sep : z -> str list -> str **)
 
@@ -1403,8 +1431,8 @@ let ascii_fuzzy_index is_bytes text pat cs =
     char_ops -> scheme -> bool -> bool -> z list -> nat -> z list -> z -> z
     -> bool -> nat -> z -> bool -> nat list -> (z * nat list) res **)
 
-let rec calc_loop co sc cs nm t idx pat prevClass score inGap consecutive firstBonus first pos =
-  match t with
+let rec calc_loop co sc cs nm t0 idx pat prevClass score inGap consecutive firstBonus first pos =
+  match t0 with
   | [] -> Ok (score, (rev pos))
   | c :: t' ->
     let class0 = class_of co sc c in
@@ -1458,11 +1486,11 @@ let calculate_score co sc cs nm text pat sidx eidx =
     char_ops -> bool -> bool -> z list -> nat -> z list -> nat option ->
     (nat * nat) option **)
 
-let rec v1_scan co cs nm t index pat sidx =
+let rec v1_scan co cs nm t0 index pat sidx =
   match pat with
   | [] -> None
   | p :: pat' ->
-    (match t with
+    (match t0 with
      | [] -> None
      | c :: t' ->
        if Z.eqb (foldm co cs nm c) p
@@ -1505,13 +1533,13 @@ let fuzzy_v1 co sc cs nm fwd is_bytes text pat withPos =
       match afi with
       | Some _ ->
         let n = length text in
-        let t = if fwd then text else rev text in
+        let t0 = if fwd then text else rev text in
         let p = if fwd then pat else rev pat in
-        (match v1_scan co cs nm t O p None with
+        (match v1_scan co cs nm t0 O p None with
          | Some p0 ->
            let (sidx, eidx) = p0 in
            let sidx0 =
-             v1_back co cs nm (rev (firstn (sub eidx sidx) (skipn sidx t)))
+             v1_back co cs nm (rev (firstn (sub eidx sidx) (skipn sidx t0)))
                (sub eidx (S O)) (rev p) sidx
            in
            if fwd
@@ -1940,14 +1968,14 @@ let zget l i =
     bool -> bool -> z list -> z list -> mat -> mat -> z -> z -> z -> z -> nat
     -> z -> bool -> z -> z -> (((mat * mat) * z) * z) res **)
 
-let rec p3_row fwd lastrow t b h c row width f0 pchar n col inGap maxScore maxPos =
+let rec p3_row fwd lastrow t0 b h c row width f0 pchar n col inGap maxScore maxPos =
   match n with
   | O -> Ok (((h, c), maxScore), maxPos)
   | S n' ->
     let j0 = Z.sub col f0 in
     bind (mget h (Z.sub (Z.add row j0) (Zpos XH))) (fun hleft ->
       let s2 = Z.add hleft (if inGap then scoreGapExt else scoreGapStart) in
-      bind (zget t col) (fun ch ->
+      bind (zget t0 col) (fun ch ->
         bind
           (if Z.eqb pchar ch
            then bind (mget h (Z.sub (Z.sub (Z.add row j0) (Zpos XH)) width))
@@ -1980,7 +2008,7 @@ let rec p3_row fwd lastrow t b h c row width f0 pchar n col inGap maxScore maxPo
                 (if fwd then Z.ltb maxScore score else Z.leb maxScore score)
             in
             bind (mset h (Z.add row j0) score) (fun h' ->
-              p3_row fwd lastrow t b h' c' row width f0 pchar n'
+              p3_row fwd lastrow t0 b h' c' row width f0 pchar n'
                 (Z.add col (Zpos XH)) (Z.ltb s1 s2)
                 (if better then score else maxScore)
                 (if better then col else maxPos))))))
@@ -1989,7 +2017,7 @@ let rec p3_row fwd lastrow t b h c row width f0 pchar n col inGap maxScore maxPo
     bool -> z list -> z list -> mat -> mat -> z -> z -> z -> nat -> nat list
     -> z list -> nat -> z -> z -> (((mat * mat) * z) * z) res **)
 
-let rec p3_rows fwd t b h c width f0 lastIdx m fsub psub pidx maxScore maxPos =
+let rec p3_rows fwd t0 b h c width f0 lastIdx m fsub psub pidx maxScore maxPos =
   match fsub with
   | [] -> Ok (((h, c), maxScore), maxPos)
   | f :: fsub' ->
@@ -2001,13 +2029,14 @@ let rec p3_rows fwd t b h c width f0 lastIdx m fsub psub pidx maxScore maxPos =
        bind (mset h (Z.sub (Z.sub (Z.add row f1) f0) (Zpos XH)) Z0)
          (fun h1 ->
          bind
-           (p3_row fwd (Nat.eqb pidx (sub m (S O))) t b h1 c row width f0
+           (p3_row fwd (Nat.eqb pidx (sub m (S O))) t0 b h1 c row width f0
              pchar (Z.to_nat (Z.sub (Z.add lastIdx (Zpos XH)) f1)) f1 false
              maxScore maxPos) (fun r ->
            let (p, mp) = r in
            let (p0, ms) = p in
            let (h2, c2) = p0 in
-           p3_rows fwd t b h2 c2 width f0 lastIdx m fsub' psub' (S pidx) ms mp)))
+           p3_rows fwd t0 b h2 c2 width f0 lastIdx m fsub' psub' (S pidx) ms
+             mp)))
 
 (** val p4 :
     nat -> mat -> mat -> nat list -> z -> z -> nat -> nat -> nat -> z -> bool
@@ -2109,7 +2138,7 @@ let fuzzy_v2 co sc cs nm fwd is_bytes text pat withPos slabCap =
                              then let r = add minIdx st.p2_maxPos in
                                   Ok (Match (r, (S r), st.p2_maxScore,
                                   (if withPos then Some (r :: []) else None)))
-                             else let t = rev st.p2_T in
+                             else let t0 = rev st.p2_T in
                                   let b = rev st.p2_B in
                                   let h0 = rev st.p2_H0 in
                                   let c0 = rev st.p2_C0 in
@@ -2141,7 +2170,7 @@ let fuzzy_v2 co sc cs nm fwd is_bytes text pat withPos slabCap =
                                                   (put_row blank Z0 (seg0 c0))
                                                   (fun c ->
                                                   bind
-                                                    (p3_rows fwd t b h c
+                                                    (p3_rows fwd t0 b h c
                                                       width f0 lastIdx m
                                                       (tl f) (tl pat) (S O)
                                                       st.p2_maxScore
@@ -2193,8 +2222,8 @@ let fuzzy_v2 co sc cs nm fwd is_bytes text pat withPos slabCap =
 
 (** val tbl_find : z list list -> z -> z list option **)
 
-let rec tbl_find t r =
-  match t with
+let rec tbl_find t0 r =
+  match t0 with
   | [] -> None
   | e :: t' ->
     (match e with
@@ -2203,9 +2232,9 @@ let rec tbl_find t r =
 
 (** val ops_of : z list list -> char_ops **)
 
-let ops_of t =
+let ops_of t0 =
   { co_lower = (fun r ->
-    match tbl_find t r with
+    match tbl_find t0 r with
     | Some l0 ->
       (match l0 with
        | [] -> r
@@ -2225,7 +2254,7 @@ let ops_of t =
                                  | [] -> l
                                  | _ :: _ -> r))))))
     | None -> r); co_class = (fun r ->
-    match tbl_find t r with
+    match tbl_find t0 r with
     | Some l ->
       (match l with
        | [] -> cNonWord
@@ -2245,7 +2274,7 @@ let ops_of t =
                                  | [] -> c
                                  | _ :: _ -> cNonWord))))))
     | None -> cNonWord); co_norm = (fun r ->
-    match tbl_find t r with
+    match tbl_find t0 r with
     | Some l ->
       (match l with
        | [] -> r
@@ -2265,7 +2294,7 @@ let ops_of t =
                                  | [] -> n
                                  | _ :: _ -> r))))))
     | None -> r); co_space = (fun r ->
-    match tbl_find t r with
+    match tbl_find t0 r with
     | Some l ->
       (match l with
        | [] -> false
@@ -2543,6 +2572,6195 @@ let dispatch_algo op a =
                   | None -> VL [])
             else None
 
+(** val cOLON : z **)
+
+let cOLON =
+  Zpos (XO (XI (XO (XI (XI XH)))))
+
+(** val cOMMA : z **)
+
+let cOMMA =
+  Zpos (XO (XO (XI (XI (XO XH)))))
+
+(** val pLUS : z **)
+
+let pLUS =
+  Zpos (XI (XI (XO (XI (XO XH)))))
+
+(** val sPACE : z **)
+
+let sPACE =
+  Zpos (XO (XO (XO (XO (XO XH)))))
+
+(** val dASH : z **)
+
+let dASH =
+  Zpos (XI (XO (XI (XI (XO XH)))))
+
+(** val is_upper : z -> bool **)
+
+let is_upper c =
+  (&&) (Z.leb (Zpos (XI (XO (XO (XO (XO (XO XH))))))) c)
+    (Z.leb c (Zpos (XO (XI (XO (XI (XI (XO XH))))))))
+
+(** val is_lower : z -> bool **)
+
+let is_lower c =
+  (&&) (Z.leb (Zpos (XI (XO (XO (XO (XO (XI XH))))))) c)
+    (Z.leb c (Zpos (XO (XI (XO (XI (XI (XI XH))))))))
+
+(** val lower : z -> z **)
+
+let lower c =
+  if is_upper c then Z.add c (Zpos (XO (XO (XO (XO (XO XH)))))) else c
+
+(** val to_lower : str -> str **)
+
+let to_lower s =
+  map lower s
+
+(** val is_sep : z -> bool **)
+
+let is_sep c =
+  (||) ((||) (Z.eqb c cOLON) (Z.eqb c cOMMA)) (Z.eqb c pLUS)
+
+(** val split_aux : z -> str -> str -> str list **)
+
+let rec split_aux sep cur = function
+| [] -> (rev cur) :: []
+| c :: r ->
+  if Z.eqb c sep
+  then (rev cur) :: (split_aux sep [] r)
+  else split_aux sep (c :: cur) r
+
+(** val split_on : z -> str -> str list **)
+
+let split_on sep s =
+  split_aux sep [] s
+
+type key =
+| KRune of z
+| KCtrl of z
+| KNamed of str
+| KF of z
+| KAlt of z
+| KCtrlAlt of z
+
+(** val key_eqb : key -> key -> bool **)
+
+let key_eqb x y =
+  match x with
+  | KRune a -> (match y with
+                | KRune c -> Z.eqb a c
+                | _ -> false)
+  | KCtrl a -> (match y with
+                | KCtrl c -> Z.eqb a c
+                | _ -> false)
+  | KNamed a -> (match y with
+                 | KNamed c -> str_eqb a c
+                 | _ -> false)
+  | KF a -> (match y with
+             | KF c -> Z.eqb a c
+             | _ -> false)
+  | KAlt a -> (match y with
+               | KAlt c -> Z.eqb a c
+               | _ -> false)
+  | KCtrlAlt a -> (match y with
+                   | KCtrlAlt c -> Z.eqb a c
+                   | _ -> false)
+
+(** val named_keys : (str * key) list **)
+
+let named_keys =
+  (((Zpos (XI (XO (XI (XO (XI (XI XH))))))) :: ((Zpos (XO (XO (XO (XO (XI (XI
+    XH))))))) :: [])), (KNamed ((Zpos (XI (XO (XI (XO (XI (XI
+    XH))))))) :: ((Zpos (XO (XO (XO (XO (XI (XI
+    XH))))))) :: [])))) :: ((((Zpos (XO (XO (XI (XO (XO (XI
+    XH))))))) :: ((Zpos (XI (XI (XI (XI (XO (XI XH))))))) :: ((Zpos (XI (XI
+    (XI (XO (XI (XI XH))))))) :: ((Zpos (XO (XI (XI (XI (XO (XI
+    XH))))))) :: [])))), (KNamed ((Zpos (XO (XO (XI (XO (XO (XI
+    XH))))))) :: ((Zpos (XI (XI (XI (XI (XO (XI XH))))))) :: ((Zpos (XI (XI
+    (XI (XO (XI (XI XH))))))) :: ((Zpos (XO (XI (XI (XI (XO (XI
+    XH))))))) :: [])))))) :: ((((Zpos (XO (XO (XI (XI (XO (XI
+    XH))))))) :: ((Zpos (XI (XO (XI (XO (XO (XI XH))))))) :: ((Zpos (XO (XI
+    (XI (XO (XO (XI XH))))))) :: ((Zpos (XO (XO (XI (XO (XI (XI
+    XH))))))) :: [])))), (KNamed ((Zpos (XO (XO (XI (XI (XO (XI
+    XH))))))) :: ((Zpos (XI (XO (XI (XO (XO (XI XH))))))) :: ((Zpos (XO (XI
+    (XI (XO (XO (XI XH))))))) :: ((Zpos (XO (XO (XI (XO (XI (XI
+    XH))))))) :: [])))))) :: ((((Zpos (XO (XI (XO (XO (XI (XI
+    XH))))))) :: ((Zpos (XI (XO (XO (XI (XO (XI XH))))))) :: ((Zpos (XI (XI
+    (XI (XO (XO (XI XH))))))) :: ((Zpos (XO (XO (XO (XI (XO (XI
+    XH))))))) :: ((Zpos (XO (XO (XI (XO (XI (XI XH))))))) :: []))))), (KNamed
+    ((Zpos (XO (XI (XO (XO (XI (XI XH))))))) :: ((Zpos (XI (XO (XO (XI (XO
+    (XI XH))))))) :: ((Zpos (XI (XI (XI (XO (XO (XI XH))))))) :: ((Zpos (XO
+    (XO (XO (XI (XO (XI XH))))))) :: ((Zpos (XO (XO (XI (XO (XI (XI
+    XH))))))) :: []))))))) :: ((((Zpos (XI (XO (XI (XO (XO (XI
+    XH))))))) :: ((Zpos (XO (XI (XI (XI (XO (XI XH))))))) :: ((Zpos (XO (XO
+    (XI (XO (XI (XI XH))))))) :: ((Zpos (XI (XO (XI (XO (XO (XI
+    XH))))))) :: ((Zpos (XO (XI (XO (XO (XI (XI XH))))))) :: []))))), (KCtrl
+    (Zpos (XO (XO (XI XH)))))) :: ((((Zpos (XO (XI (XO (XO (XI (XI
+    XH))))))) :: ((Zpos (XI (XO (XI (XO (XO (XI XH))))))) :: ((Zpos (XO (XO
+    (XI (XO (XI (XI XH))))))) :: ((Zpos (XI (XO (XI (XO (XI (XI
+    XH))))))) :: ((Zpos (XO (XI (XO (XO (XI (XI XH))))))) :: ((Zpos (XO (XI
+    (XI (XI (XO (XI XH))))))) :: [])))))), (KCtrl (Zpos (XO (XO (XI
+    XH)))))) :: ((((Zpos (XI (XI (XO (XO (XI (XI XH))))))) :: ((Zpos (XO (XO
+    (XO (XO (XI (XI XH))))))) :: ((Zpos (XI (XO (XO (XO (XO (XI
+    XH))))))) :: ((Zpos (XI (XI (XO (XO (XO (XI XH))))))) :: ((Zpos (XI (XO
+    (XI (XO (XO (XI XH))))))) :: []))))), (KRune (Zpos (XO (XO (XO (XO (XO
+    XH)))))))) :: ((((Zpos (XO (XI (XO (XO (XO (XI XH))))))) :: ((Zpos (XI
+    (XO (XO (XO (XO (XI XH))))))) :: ((Zpos (XI (XI (XO (XO (XO (XI
+    XH))))))) :: ((Zpos (XI (XI (XO (XI (XO (XI XH))))))) :: ((Zpos (XI (XI
+    (XO (XO (XI (XI XH))))))) :: ((Zpos (XO (XO (XO (XO (XI (XI
+    XH))))))) :: ((Zpos (XI (XO (XO (XO (XO (XI XH))))))) :: ((Zpos (XI (XI
+    (XO (XO (XO (XI XH))))))) :: ((Zpos (XI (XO (XI (XO (XO (XI
+    XH))))))) :: []))))))))), (KNamed ((Zpos (XO (XI (XO (XO (XO (XI
+    XH))))))) :: ((Zpos (XI (XO (XO (XO (XO (XI XH))))))) :: ((Zpos (XI (XI
+    (XO (XO (XO (XI XH))))))) :: ((Zpos (XI (XI (XO (XI (XO (XI
+    XH))))))) :: ((Zpos (XI (XI (XO (XO (XI (XI XH))))))) :: ((Zpos (XO (XO
+    (XO (XO (XI (XI XH))))))) :: ((Zpos (XI (XO (XO (XO (XO (XI
+    XH))))))) :: ((Zpos (XI (XI (XO (XO (XO (XI XH))))))) :: ((Zpos (XI (XO
+    (XI (XO (XO (XI XH))))))) :: []))))))))))) :: ((((Zpos (XO (XI (XO (XO
+    (XO (XI XH))))))) :: ((Zpos (XI (XI (XO (XO (XI (XI XH))))))) :: ((Zpos
+    (XO (XO (XO (XO (XI (XI XH))))))) :: ((Zpos (XI (XO (XO (XO (XO (XI
+    XH))))))) :: ((Zpos (XI (XI (XO (XO (XO (XI XH))))))) :: ((Zpos (XI (XO
+    (XI (XO (XO (XI XH))))))) :: [])))))), (KNamed ((Zpos (XO (XI (XO (XO (XO
+    (XI XH))))))) :: ((Zpos (XI (XO (XO (XO (XO (XI XH))))))) :: ((Zpos (XI
+    (XI (XO (XO (XO (XI XH))))))) :: ((Zpos (XI (XI (XO (XI (XO (XI
+    XH))))))) :: ((Zpos (XI (XI (XO (XO (XI (XI XH))))))) :: ((Zpos (XO (XO
+    (XO (XO (XI (XI XH))))))) :: ((Zpos (XI (XO (XO (XO (XO (XI
+    XH))))))) :: ((Zpos (XI (XI (XO (XO (XO (XI XH))))))) :: ((Zpos (XI (XO
+    (XI (XO (XO (XI XH))))))) :: []))))))))))) :: ((((Zpos (XO (XI (XO (XO
+    (XO (XI XH))))))) :: ((Zpos (XI (XI (XO (XO (XI (XI XH))))))) :: [])),
+    (KNamed ((Zpos (XO (XI (XO (XO (XO (XI XH))))))) :: ((Zpos (XI (XO (XO
+    (XO (XO (XI XH))))))) :: ((Zpos (XI (XI (XO (XO (XO (XI
+    XH))))))) :: ((Zpos (XI (XI (XO (XI (XO (XI XH))))))) :: ((Zpos (XI (XI
+    (XO (XO (XI (XI XH))))))) :: ((Zpos (XO (XO (XO (XO (XI (XI
+    XH))))))) :: ((Zpos (XI (XO (XO (XO (XO (XI XH))))))) :: ((Zpos (XI (XI
+    (XO (XO (XO (XI XH))))))) :: ((Zpos (XI (XO (XI (XO (XO (XI
+    XH))))))) :: []))))))))))) :: ((((Zpos (XI (XI (XO (XO (XO (XI
+    XH))))))) :: ((Zpos (XO (XO (XI (XO (XI (XI XH))))))) :: ((Zpos (XO (XI
+    (XO (XO (XI (XI XH))))))) :: ((Zpos (XO (XO (XI (XI (XO (XI
+    XH))))))) :: ((Zpos (XI (XO (XI (XI (XO XH)))))) :: ((Zpos (XI (XI (XO
+    (XO (XI (XI XH))))))) :: ((Zpos (XO (XO (XO (XO (XI (XI
+    XH))))))) :: ((Zpos (XI (XO (XO (XO (XO (XI XH))))))) :: ((Zpos (XI (XI
+    (XO (XO (XO (XI XH))))))) :: ((Zpos (XI (XO (XI (XO (XO (XI
+    XH))))))) :: [])))))))))), (KNamed ((Zpos (XI (XI (XO (XO (XO (XI
+    XH))))))) :: ((Zpos (XO (XO (XI (XO (XI (XI XH))))))) :: ((Zpos (XO (XI
+    (XO (XO (XI (XI XH))))))) :: ((Zpos (XO (XO (XI (XI (XO (XI
+    XH))))))) :: ((Zpos (XI (XO (XI (XI (XO XH)))))) :: ((Zpos (XI (XI (XO
+    (XO (XI (XI XH))))))) :: ((Zpos (XO (XO (XO (XO (XI (XI
+    XH))))))) :: ((Zpos (XI (XO (XO (XO (XO (XI XH))))))) :: ((Zpos (XI (XI
+    (XO (XO (XO (XI XH))))))) :: ((Zpos (XI (XO (XI (XO (XO (XI
+    XH))))))) :: [])))))))))))) :: ((((Zpos (XI (XI (XO (XO (XO (XI
+    XH))))))) :: ((Zpos (XO (XO (XI (XO (XI (XI XH))))))) :: ((Zpos (XO (XI
+    (XO (XO (XI (XI XH))))))) :: ((Zpos (XO (XO (XI (XI (XO (XI
+    XH))))))) :: ((Zpos (XI (XO (XI (XI (XO XH)))))) :: ((Zpos (XO (XO (XI
+    (XO (XO (XI XH))))))) :: ((Zpos (XI (XO (XI (XO (XO (XI
+    XH))))))) :: ((Zpos (XO (XO (XI (XI (XO (XI XH))))))) :: ((Zpos (XI (XO
+    (XI (XO (XO (XI XH))))))) :: ((Zpos (XO (XO (XI (XO (XI (XI
+    XH))))))) :: ((Zpos (XI (XO (XI (XO (XO (XI XH))))))) :: []))))))))))),
+    (KNamed ((Zpos (XI (XI (XO (XO (XO (XI XH))))))) :: ((Zpos (XO (XO (XI
+    (XO (XI (XI XH))))))) :: ((Zpos (XO (XI (XO (XO (XI (XI
+    XH))))))) :: ((Zpos (XO (XO (XI (XI (XO (XI XH))))))) :: ((Zpos (XI (XO
+    (XI (XI (XO XH)))))) :: ((Zpos (XO (XO (XI (XO (XO (XI
+    XH))))))) :: ((Zpos (XI (XO (XI (XO (XO (XI XH))))))) :: ((Zpos (XO (XO
+    (XI (XI (XO (XI XH))))))) :: ((Zpos (XI (XO (XI (XO (XO (XI
+    XH))))))) :: ((Zpos (XO (XO (XI (XO (XI (XI XH))))))) :: ((Zpos (XI (XO
+    (XI (XO (XO (XI XH))))))) :: []))))))))))))) :: ((((Zpos (XI (XI (XO (XO
+    (XO (XI XH))))))) :: ((Zpos (XO (XO (XI (XO (XI (XI XH))))))) :: ((Zpos
+    (XO (XI (XO (XO (XI (XI XH))))))) :: ((Zpos (XO (XO (XI (XI (XO (XI
+    XH))))))) :: ((Zpos (XI (XO (XI (XI (XO XH)))))) :: ((Zpos (XO (XI (XI
+    (XI (XI (XO XH))))))) :: [])))))), (KNamed ((Zpos (XI (XI (XO (XO (XO (XI
+    XH))))))) :: ((Zpos (XO (XO (XI (XO (XI (XI XH))))))) :: ((Zpos (XO (XI
+    (XO (XO (XI (XI XH))))))) :: ((Zpos (XO (XO (XI (XI (XO (XI
+    XH))))))) :: ((Zpos (XI (XO (XI (XI (XO XH)))))) :: ((Zpos (XI (XI (XO
+    (XO (XO (XI XH))))))) :: ((Zpos (XI (XO (XO (XO (XO (XI
+    XH))))))) :: ((Zpos (XO (XI (XO (XO (XI (XI XH))))))) :: ((Zpos (XI (XO
+    (XI (XO (XO (XI XH))))))) :: ((Zpos (XO (XO (XI (XO (XI (XI
+    XH))))))) :: [])))))))))))) :: ((((Zpos (XI (XI (XO (XO (XO (XI
+    XH))))))) :: ((Zpos (XO (XO (XI (XO (XI (XI XH))))))) :: ((Zpos (XO (XI
+    (XO (XO (XI (XI XH))))))) :: ((Zpos (XO (XO (XI (XI (XO (XI
+    XH))))))) :: ((Zpos (XI (XO (XI (XI (XO XH)))))) :: ((Zpos (XO (XI (XI
+    (XO (XI XH)))))) :: [])))))), (KNamed ((Zpos (XI (XI (XO (XO (XO (XI
+    XH))))))) :: ((Zpos (XO (XO (XI (XO (XI (XI XH))))))) :: ((Zpos (XO (XI
+    (XO (XO (XI (XI XH))))))) :: ((Zpos (XO (XO (XI (XI (XO (XI
+    XH))))))) :: ((Zpos (XI (XO (XI (XI (XO XH)))))) :: ((Zpos (XI (XI (XO
+    (XO (XO (XI XH))))))) :: ((Zpos (XI (XO (XO (XO (XO (XI
+    XH))))))) :: ((Zpos (XO (XI (XO (XO (XI (XI XH))))))) :: ((Zpos (XI (XO
+    (XI (XO (XO (XI XH))))))) :: ((Zpos (XO (XO (XI (XO (XI (XI
+    XH))))))) :: [])))))))))))) :: ((((Zpos (XI (XI (XO (XO (XO (XI
+    XH))))))) :: ((Zpos (XO (XO (XI (XO (XI (XI XH))))))) :: ((Zpos (XO (XI
+    (XO (XO (XI (XI XH))))))) :: ((Zpos (XO (XO (XI (XI (XO (XI
+    XH))))))) :: ((Zpos (XI (XO (XI (XI (XO XH)))))) :: ((Zpos (XI (XI (XI
+    (XI (XO XH)))))) :: [])))))), (KNamed ((Zpos (XI (XI (XO (XO (XO (XI
+    XH))))))) :: ((Zpos (XO (XO (XI (XO (XI (XI XH))))))) :: ((Zpos (XO (XI
+    (XO (XO (XI (XI XH))))))) :: ((Zpos (XO (XO (XI (XI (XO (XI
+    XH))))))) :: ((Zpos (XI (XO (XI (XI (XO XH)))))) :: ((Zpos (XI (XI (XO
+    (XO (XI (XI XH))))))) :: ((Zpos (XO (XO (XI (XI (XO (XI
+    XH))))))) :: ((Zpos (XI (XO (XO (XO (XO (XI XH))))))) :: ((Zpos (XI (XI
+    (XO (XO (XI (XI XH))))))) :: ((Zpos (XO (XO (XO (XI (XO (XI
+    XH))))))) :: [])))))))))))) :: ((((Zpos (XI (XI (XO (XO (XO (XI
+    XH))))))) :: ((Zpos (XO (XO (XI (XO (XI (XI XH))))))) :: ((Zpos (XO (XI
+    (XO (XO (XI (XI XH))))))) :: ((Zpos (XO (XO (XI (XI (XO (XI
+    XH))))))) :: ((Zpos (XI (XO (XI (XI (XO XH)))))) :: ((Zpos (XI (XI (XI
+    (XI (XI (XO XH))))))) :: [])))))), (KNamed ((Zpos (XI (XI (XO (XO (XO (XI
+    XH))))))) :: ((Zpos (XO (XO (XI (XO (XI (XI XH))))))) :: ((Zpos (XO (XI
+    (XO (XO (XI (XI XH))))))) :: ((Zpos (XO (XO (XI (XI (XO (XI
+    XH))))))) :: ((Zpos (XI (XO (XI (XI (XO XH)))))) :: ((Zpos (XI (XI (XO
+    (XO (XI (XI XH))))))) :: ((Zpos (XO (XO (XI (XI (XO (XI
+    XH))))))) :: ((Zpos (XI (XO (XO (XO (XO (XI XH))))))) :: ((Zpos (XI (XI
+    (XO (XO (XI (XI XH))))))) :: ((Zpos (XO (XO (XO (XI (XO (XI
+    XH))))))) :: [])))))))))))) :: ((((Zpos (XI (XI (XO (XO (XO (XI
+    XH))))))) :: ((Zpos (XO (XO (XI (XO (XI (XI XH))))))) :: ((Zpos (XO (XI
+    (XO (XO (XI (XI XH))))))) :: ((Zpos (XO (XO (XI (XI (XO (XI
+    XH))))))) :: ((Zpos (XI (XO (XI (XI (XO XH)))))) :: ((Zpos (XO (XO (XI
+    (XI (XI (XO XH))))))) :: [])))))), (KNamed ((Zpos (XI (XI (XO (XO (XO (XI
+    XH))))))) :: ((Zpos (XO (XO (XI (XO (XI (XI XH))))))) :: ((Zpos (XO (XI
+    (XO (XO (XI (XI XH))))))) :: ((Zpos (XO (XO (XI (XI (XO (XI
+    XH))))))) :: ((Zpos (XI (XO (XI (XI (XO XH)))))) :: ((Zpos (XO (XI (XO
+    (XO (XO (XI XH))))))) :: ((Zpos (XI (XO (XO (XO (XO (XI
+    XH))))))) :: ((Zpos (XI (XI (XO (XO (XO (XI XH))))))) :: ((Zpos (XI (XI
+    (XO (XI (XO (XI XH))))))) :: ((Zpos (XI (XO (XI (XI (XO
+    XH)))))) :: ((Zpos (XI (XI (XO (XO (XI (XI XH))))))) :: ((Zpos (XO (XO
+    (XI (XI (XO (XI XH))))))) :: ((Zpos (XI (XO (XO (XO (XO (XI
+    XH))))))) :: ((Zpos (XI (XI (XO (XO (XI (XI XH))))))) :: ((Zpos (XO (XO
+    (XO (XI (XO (XI XH))))))) :: []))))))))))))))))) :: ((((Zpos (XI (XI (XO
+    (XO (XO (XI XH))))))) :: ((Zpos (XO (XO (XI (XO (XI (XI
+    XH))))))) :: ((Zpos (XO (XI (XO (XO (XI (XI XH))))))) :: ((Zpos (XO (XO
+    (XI (XI (XO (XI XH))))))) :: ((Zpos (XI (XO (XI (XI (XO
+    XH)))))) :: ((Zpos (XI (XO (XI (XI (XI (XO XH))))))) :: [])))))), (KNamed
+    ((Zpos (XI (XI (XO (XO (XO (XI XH))))))) :: ((Zpos (XO (XO (XI (XO (XI
+    (XI XH))))))) :: ((Zpos (XO (XI (XO (XO (XI (XI XH))))))) :: ((Zpos (XO
+    (XO (XI (XI (XO (XI XH))))))) :: ((Zpos (XI (XO (XI (XI (XO
+    XH)))))) :: ((Zpos (XO (XI (XO (XO (XI (XI XH))))))) :: ((Zpos (XI (XO
+    (XO (XI (XO (XI XH))))))) :: ((Zpos (XI (XI (XI (XO (XO (XI
+    XH))))))) :: ((Zpos (XO (XO (XO (XI (XO (XI XH))))))) :: ((Zpos (XO (XO
+    (XI (XO (XI (XI XH))))))) :: ((Zpos (XI (XO (XI (XI (XO
+    XH)))))) :: ((Zpos (XO (XI (XO (XO (XO (XI XH))))))) :: ((Zpos (XO (XI
+    (XO (XO (XI (XI XH))))))) :: ((Zpos (XI (XO (XO (XO (XO (XI
+    XH))))))) :: ((Zpos (XI (XI (XO (XO (XO (XI XH))))))) :: ((Zpos (XI (XI
+    (XO (XI (XO (XI XH))))))) :: ((Zpos (XI (XO (XI (XO (XO (XI
+    XH))))))) :: ((Zpos (XO (XO (XI (XO (XI (XI
+    XH))))))) :: [])))))))))))))))))))) :: ((((Zpos (XI (XI (XO (XO (XO (XI
+    XH))))))) :: ((Zpos (XO (XO (XO (XI (XO (XI XH))))))) :: ((Zpos (XI (XO
+    (XO (XO (XO (XI XH))))))) :: ((Zpos (XO (XI (XI (XI (XO (XI
+    XH))))))) :: ((Zpos (XI (XI (XI (XO (XO (XI XH))))))) :: ((Zpos (XI (XO
+    (XI (XO (XO (XI XH))))))) :: [])))))), (KNamed ((Zpos (XI (XI (XO (XO (XO
+    (XI XH))))))) :: ((Zpos (XO (XO (XO (XI (XO (XI XH))))))) :: ((Zpos (XI
+    (XO (XO (XO (XO (XI XH))))))) :: ((Zpos (XO (XI (XI (XI (XO (XI
+    XH))))))) :: ((Zpos (XI (XI (XI (XO (XO (XI XH))))))) :: ((Zpos (XI (XO
+    (XI (XO (XO (XI XH))))))) :: [])))))))) :: ((((Zpos (XO (XI (XO (XO (XO
+    (XI XH))))))) :: ((Zpos (XI (XO (XO (XO (XO (XI XH))))))) :: ((Zpos (XI
+    (XI (XO (XO (XO (XI XH))))))) :: ((Zpos (XI (XI (XO (XI (XO (XI
+    XH))))))) :: ((Zpos (XI (XI (XI (XO (XI (XI XH))))))) :: ((Zpos (XI (XO
+    (XO (XO (XO (XI XH))))))) :: ((Zpos (XO (XI (XO (XO (XI (XI
+    XH))))))) :: ((Zpos (XO (XO (XI (XO (XO (XI XH))))))) :: ((Zpos (XI (XO
+    (XI (XI (XO XH)))))) :: ((Zpos (XI (XO (XI (XO (XO (XI
+    XH))))))) :: ((Zpos (XI (XI (XI (XI (XO (XI XH))))))) :: ((Zpos (XO (XI
+    (XI (XO (XO (XI XH))))))) :: [])))))))))))), (KNamed ((Zpos (XO (XI (XO
+    (XO (XO (XI XH))))))) :: ((Zpos (XI (XO (XO (XO (XO (XI
+    XH))))))) :: ((Zpos (XI (XI (XO (XO (XO (XI XH))))))) :: ((Zpos (XI (XI
+    (XO (XI (XO (XI XH))))))) :: ((Zpos (XI (XI (XI (XO (XI (XI
+    XH))))))) :: ((Zpos (XI (XO (XO (XO (XO (XI XH))))))) :: ((Zpos (XO (XI
+    (XO (XO (XI (XI XH))))))) :: ((Zpos (XO (XO (XI (XO (XO (XI
+    XH))))))) :: ((Zpos (XI (XO (XI (XI (XO XH)))))) :: ((Zpos (XI (XO (XI
+    (XO (XO (XI XH))))))) :: ((Zpos (XI (XI (XI (XI (XO (XI
+    XH))))))) :: ((Zpos (XO (XI (XI (XO (XO (XI
+    XH))))))) :: [])))))))))))))) :: ((((Zpos (XI (XI (XO (XO (XI (XI
+    XH))))))) :: ((Zpos (XO (XO (XI (XO (XI (XI XH))))))) :: ((Zpos (XI (XO
+    (XO (XO (XO (XI XH))))))) :: ((Zpos (XO (XI (XO (XO (XI (XI
+    XH))))))) :: ((Zpos (XO (XO (XI (XO (XI (XI XH))))))) :: []))))), (KNamed
+    ((Zpos (XI (XI (XO (XO (XI (XI XH))))))) :: ((Zpos (XO (XO (XI (XO (XI
+    (XI XH))))))) :: ((Zpos (XI (XO (XO (XO (XO (XI XH))))))) :: ((Zpos (XO
+    (XI (XO (XO (XI (XI XH))))))) :: ((Zpos (XO (XO (XI (XO (XI (XI
+    XH))))))) :: []))))))) :: ((((Zpos (XO (XO (XI (XI (XO (XI
+    XH))))))) :: ((Zpos (XI (XI (XI (XI (XO (XI XH))))))) :: ((Zpos (XI (XO
+    (XO (XO (XO (XI XH))))))) :: ((Zpos (XO (XO (XI (XO (XO (XI
+    XH))))))) :: [])))), (KNamed ((Zpos (XO (XO (XI (XI (XO (XI
+    XH))))))) :: ((Zpos (XI (XI (XI (XI (XO (XI XH))))))) :: ((Zpos (XI (XO
+    (XO (XO (XO (XI XH))))))) :: ((Zpos (XO (XO (XI (XO (XO (XI
+    XH))))))) :: [])))))) :: ((((Zpos (XO (XI (XI (XO (XO (XI
+    XH))))))) :: ((Zpos (XI (XI (XI (XI (XO (XI XH))))))) :: ((Zpos (XI (XI
+    (XO (XO (XO (XI XH))))))) :: ((Zpos (XI (XO (XI (XO (XI (XI
+    XH))))))) :: ((Zpos (XI (XI (XO (XO (XI (XI XH))))))) :: []))))), (KNamed
+    ((Zpos (XO (XI (XI (XO (XO (XI XH))))))) :: ((Zpos (XI (XI (XI (XI (XO
+    (XI XH))))))) :: ((Zpos (XI (XI (XO (XO (XO (XI XH))))))) :: ((Zpos (XI
+    (XO (XI (XO (XI (XI XH))))))) :: ((Zpos (XI (XI (XO (XO (XI (XI
+    XH))))))) :: []))))))) :: ((((Zpos (XO (XI (XO (XO (XI (XI
+    XH))))))) :: ((Zpos (XI (XO (XI (XO (XO (XI XH))))))) :: ((Zpos (XI (XI
+    (XO (XO (XI (XI XH))))))) :: ((Zpos (XI (XO (XI (XO (XI (XI
+    XH))))))) :: ((Zpos (XO (XO (XI (XI (XO (XI XH))))))) :: ((Zpos (XO (XO
+    (XI (XO (XI (XI XH))))))) :: [])))))), (KNamed ((Zpos (XO (XI (XO (XO (XI
+    (XI XH))))))) :: ((Zpos (XI (XO (XI (XO (XO (XI XH))))))) :: ((Zpos (XI
+    (XI (XO (XO (XI (XI XH))))))) :: ((Zpos (XI (XO (XI (XO (XI (XI
+    XH))))))) :: ((Zpos (XO (XO (XI (XI (XO (XI XH))))))) :: ((Zpos (XO (XO
+    (XI (XO (XI (XI XH))))))) :: [])))))))) :: ((((Zpos (XO (XI (XO (XO (XI
+    (XI XH))))))) :: ((Zpos (XI (XO (XI (XO (XO (XI XH))))))) :: ((Zpos (XI
+    (XI (XO (XO (XI (XI XH))))))) :: ((Zpos (XI (XO (XO (XI (XO (XI
+    XH))))))) :: ((Zpos (XO (XI (XO (XI (XI (XI XH))))))) :: ((Zpos (XI (XO
+    (XI (XO (XO (XI XH))))))) :: [])))))), (KNamed ((Zpos (XO (XI (XO (XO (XI
+    (XI XH))))))) :: ((Zpos (XI (XO (XI (XO (XO (XI XH))))))) :: ((Zpos (XI
+    (XI (XO (XO (XI (XI XH))))))) :: ((Zpos (XI (XO (XO (XI (XO (XI
+    XH))))))) :: ((Zpos (XO (XI (XO (XI (XI (XI XH))))))) :: ((Zpos (XI (XO
+    (XI (XO (XO (XI XH))))))) :: [])))))))) :: ((((Zpos (XI (XI (XI (XI (XO
+    (XI XH))))))) :: ((Zpos (XO (XI (XI (XI (XO (XI XH))))))) :: ((Zpos (XI
+    (XO (XI (XO (XO (XI XH))))))) :: []))), (KNamed ((Zpos (XI (XI (XI (XI
+    (XO (XI XH))))))) :: ((Zpos (XO (XI (XI (XI (XO (XI XH))))))) :: ((Zpos
+    (XI (XO (XI (XO (XO (XI XH))))))) :: []))))) :: ((((Zpos (XO (XI (XO (XI
+    (XI (XI XH))))))) :: ((Zpos (XI (XO (XI (XO (XO (XI XH))))))) :: ((Zpos
+    (XO (XI (XO (XO (XI (XI XH))))))) :: ((Zpos (XI (XI (XI (XI (XO (XI
+    XH))))))) :: [])))), (KNamed ((Zpos (XO (XI (XO (XI (XI (XI
+    XH))))))) :: ((Zpos (XI (XO (XI (XO (XO (XI XH))))))) :: ((Zpos (XO (XI
+    (XO (XO (XI (XI XH))))))) :: ((Zpos (XI (XI (XI (XI (XO (XI
+    XH))))))) :: [])))))) :: ((((Zpos (XO (XI (XO (XI (XO (XI
+    XH))))))) :: ((Zpos (XI (XO (XI (XO (XI (XI XH))))))) :: ((Zpos (XI (XO
+    (XI (XI (XO (XI XH))))))) :: ((Zpos (XO (XO (XO (XO (XI (XI
+    XH))))))) :: [])))), (KNamed ((Zpos (XO (XI (XO (XI (XO (XI
+    XH))))))) :: ((Zpos (XI (XO (XI (XO (XI (XI XH))))))) :: ((Zpos (XI (XO
+    (XI (XI (XO (XI XH))))))) :: ((Zpos (XO (XO (XO (XO (XI (XI
+    XH))))))) :: [])))))) :: ((((Zpos (XO (XI (XO (XI (XO (XI
+    XH))))))) :: ((Zpos (XI (XO (XI (XO (XI (XI XH))))))) :: ((Zpos (XI (XO
+    (XI (XI (XO (XI XH))))))) :: ((Zpos (XO (XO (XO (XO (XI (XI
+    XH))))))) :: ((Zpos (XI (XO (XI (XI (XO XH)))))) :: ((Zpos (XI (XI (XO
+    (XO (XO (XI XH))))))) :: ((Zpos (XI (XO (XO (XO (XO (XI
+    XH))))))) :: ((Zpos (XO (XI (XI (XI (XO (XI XH))))))) :: ((Zpos (XI (XI
+    (XO (XO (XO (XI XH))))))) :: ((Zpos (XI (XO (XI (XO (XO (XI
+    XH))))))) :: ((Zpos (XO (XO (XI (XI (XO (XI XH))))))) :: []))))))))))),
+    (KNamed ((Zpos (XO (XI (XO (XI (XO (XI XH))))))) :: ((Zpos (XI (XO (XI
+    (XO (XI (XI XH))))))) :: ((Zpos (XI (XO (XI (XI (XO (XI
+    XH))))))) :: ((Zpos (XO (XO (XO (XO (XI (XI XH))))))) :: ((Zpos (XI (XO
+    (XI (XI (XO XH)))))) :: ((Zpos (XI (XI (XO (XO (XO (XI
+    XH))))))) :: ((Zpos (XI (XO (XO (XO (XO (XI XH))))))) :: ((Zpos (XO (XI
+    (XI (XI (XO (XI XH))))))) :: ((Zpos (XI (XI (XO (XO (XO (XI
+    XH))))))) :: ((Zpos (XI (XO (XI (XO (XO (XI XH))))))) :: ((Zpos (XO (XO
+    (XI (XI (XO (XI XH))))))) :: []))))))))))))) :: ((((Zpos (XI (XI (XO (XO
+    (XO (XI XH))))))) :: ((Zpos (XO (XO (XI (XI (XO (XI XH))))))) :: ((Zpos
+    (XI (XO (XO (XI (XO (XI XH))))))) :: ((Zpos (XI (XI (XO (XO (XO (XI
+    XH))))))) :: ((Zpos (XI (XI (XO (XI (XO (XI XH))))))) :: ((Zpos (XI (XO
+    (XI (XI (XO XH)))))) :: ((Zpos (XO (XO (XO (XI (XO (XI
+    XH))))))) :: ((Zpos (XI (XO (XI (XO (XO (XI XH))))))) :: ((Zpos (XI (XO
+    (XO (XO (XO (XI XH))))))) :: ((Zpos (XO (XO (XI (XO (XO (XI
+    XH))))))) :: ((Zpos (XI (XO (XI (XO (XO (XI XH))))))) :: ((Zpos (XO (XI
+    (XO (XO (XI (XI XH))))))) :: [])))))))))))), (KNamed ((Zpos (XI (XI (XO
+    (XO (XO (XI XH))))))) :: ((Zpos (XO (XO (XI (XI (XO (XI
+    XH))))))) :: ((Zpos (XI (XO (XO (XI (XO (XI XH))))))) :: ((Zpos (XI (XI
+    (XO (XO (XO (XI XH))))))) :: ((Zpos (XI (XI (XO (XI (XO (XI
+    XH))))))) :: ((Zpos (XI (XO (XI (XI (XO XH)))))) :: ((Zpos (XO (XO (XO
+    (XI (XO (XI XH))))))) :: ((Zpos (XI (XO (XI (XO (XO (XI
+    XH))))))) :: ((Zpos (XI (XO (XO (XO (XO (XI XH))))))) :: ((Zpos (XO (XO
+    (XI (XO (XO (XI XH))))))) :: ((Zpos (XI (XO (XI (XO (XO (XI
+    XH))))))) :: ((Zpos (XO (XI (XO (XO (XI (XI
+    XH))))))) :: [])))))))))))))) :: ((((Zpos (XI (XO (XO (XO (XO (XI
+    XH))))))) :: ((Zpos (XO (XO (XI (XI (XO (XI XH))))))) :: ((Zpos (XO (XO
+    (XI (XO (XI (XI XH))))))) :: ((Zpos (XI (XO (XI (XI (XO
+    XH)))))) :: ((Zpos (XI (XO (XI (XO (XO (XI XH))))))) :: ((Zpos (XO (XI
+    (XI (XI (XO (XI XH))))))) :: ((Zpos (XO (XO (XI (XO (XI (XI
+    XH))))))) :: ((Zpos (XI (XO (XI (XO (XO (XI XH))))))) :: ((Zpos (XO (XI
+    (XO (XO (XI (XI XH))))))) :: []))))))))), (KCtrlAlt (Zpos (XI (XO (XI (XI
+    (XO (XI XH))))))))) :: ((((Zpos (XI (XO (XO (XO (XO (XI
+    XH))))))) :: ((Zpos (XO (XO (XI (XI (XO (XI XH))))))) :: ((Zpos (XO (XO
+    (XI (XO (XI (XI XH))))))) :: ((Zpos (XI (XO (XI (XI (XO
+    XH)))))) :: ((Zpos (XO (XI (XO (XO (XI (XI XH))))))) :: ((Zpos (XI (XO
+    (XI (XO (XO (XI XH))))))) :: ((Zpos (XO (XO (XI (XO (XI (XI
+    XH))))))) :: ((Zpos (XI (XO (XI (XO (XI (XI XH))))))) :: ((Zpos (XO (XI
+    (XO (XO (XI (XI XH))))))) :: ((Zpos (XO (XI (XI (XI (XO (XI
+    XH))))))) :: [])))))))))), (KCtrlAlt (Zpos (XI (XO (XI (XI (XO (XI
+    XH))))))))) :: ((((Zpos (XI (XO (XO (XO (XO (XI XH))))))) :: ((Zpos (XO
+    (XO (XI (XI (XO (XI XH))))))) :: ((Zpos (XO (XO (XI (XO (XI (XI
+    XH))))))) :: ((Zpos (XI (XO (XI (XI (XO XH)))))) :: ((Zpos (XI (XI (XO
+    (XO (XI (XI XH))))))) :: ((Zpos (XO (XO (XO (XO (XI (XI
+    XH))))))) :: ((Zpos (XI (XO (XO (XO (XO (XI XH))))))) :: ((Zpos (XI (XI
+    (XO (XO (XO (XI XH))))))) :: ((Zpos (XI (XO (XI (XO (XO (XI
+    XH))))))) :: []))))))))), (KAlt (Zpos (XO (XO (XO (XO (XO
+    XH)))))))) :: ((((Zpos (XI (XO (XO (XO (XO (XI XH))))))) :: ((Zpos (XO
+    (XO (XI (XI (XO (XI XH))))))) :: ((Zpos (XO (XO (XI (XO (XI (XI
+    XH))))))) :: ((Zpos (XI (XO (XI (XI (XO XH)))))) :: ((Zpos (XO (XI (XO
+    (XO (XO (XI XH))))))) :: ((Zpos (XI (XI (XO (XO (XI (XI
+    XH))))))) :: [])))))), (KNamed ((Zpos (XI (XO (XO (XO (XO (XI
+    XH))))))) :: ((Zpos (XO (XO (XI (XI (XO (XI XH))))))) :: ((Zpos (XO (XO
+    (XI (XO (XI (XI XH))))))) :: ((Zpos (XI (XO (XI (XI (XO
+    XH)))))) :: ((Zpos (XO (XI (XO (XO (XO (XI XH))))))) :: ((Zpos (XI (XO
+    (XO (XO (XO (XI XH))))))) :: ((Zpos (XI (XI (XO (XO (XO (XI
+    XH))))))) :: ((Zpos (XI (XI (XO (XI (XO (XI XH))))))) :: ((Zpos (XI (XI
+    (XO (XO (XI (XI XH))))))) :: ((Zpos (XO (XO (XO (XO (XI (XI
+    XH))))))) :: ((Zpos (XI (XO (XO (XO (XO (XI XH))))))) :: ((Zpos (XI (XI
+    (XO (XO (XO (XI XH))))))) :: ((Zpos (XI (XO (XI (XO (XO (XI
+    XH))))))) :: []))))))))))))))) :: ((((Zpos (XI (XO (XO (XO (XO (XI
+    XH))))))) :: ((Zpos (XO (XO (XI (XI (XO (XI XH))))))) :: ((Zpos (XO (XO
+    (XI (XO (XI (XI XH))))))) :: ((Zpos (XI (XO (XI (XI (XO
+    XH)))))) :: ((Zpos (XO (XI (XO (XO (XO (XI XH))))))) :: ((Zpos (XI (XI
+    (XO (XO (XI (XI XH))))))) :: ((Zpos (XO (XO (XO (XO (XI (XI
+    XH))))))) :: ((Zpos (XI (XO (XO (XO (XO (XI XH))))))) :: ((Zpos (XI (XI
+    (XO (XO (XO (XI XH))))))) :: ((Zpos (XI (XO (XI (XO (XO (XI
+    XH))))))) :: [])))))))))), (KNamed ((Zpos (XI (XO (XO (XO (XO (XI
+    XH))))))) :: ((Zpos (XO (XO (XI (XI (XO (XI XH))))))) :: ((Zpos (XO (XO
+    (XI (XO (XI (XI XH))))))) :: ((Zpos (XI (XO (XI (XI (XO
+    XH)))))) :: ((Zpos (XO (XI (XO (XO (XO (XI XH))))))) :: ((Zpos (XI (XO
+    (XO (XO (XO (XI XH))))))) :: ((Zpos (XI (XI (XO (XO (XO (XI
+    XH))))))) :: ((Zpos (XI (XI (XO (XI (XO (XI XH))))))) :: ((Zpos (XI (XI
+    (XO (XO (XI (XI XH))))))) :: ((Zpos (XO (XO (XO (XO (XI (XI
+    XH))))))) :: ((Zpos (XI (XO (XO (XO (XO (XI XH))))))) :: ((Zpos (XI (XI
+    (XO (XO (XO (XI XH))))))) :: ((Zpos (XI (XO (XI (XO (XO (XI
+    XH))))))) :: []))))))))))))))) :: ((((Zpos (XI (XO (XO (XO (XO (XI
+    XH))))))) :: ((Zpos (XO (XO (XI (XI (XO (XI XH))))))) :: ((Zpos (XO (XO
+    (XI (XO (XI (XI XH))))))) :: ((Zpos (XI (XO (XI (XI (XO
+    XH)))))) :: ((Zpos (XO (XI (XO (XO (XO (XI XH))))))) :: ((Zpos (XI (XO
+    (XO (XO (XO (XI XH))))))) :: ((Zpos (XI (XI (XO (XO (XO (XI
+    XH))))))) :: ((Zpos (XI (XI (XO (XI (XO (XI XH))))))) :: ((Zpos (XI (XI
+    (XO (XO (XI (XI XH))))))) :: ((Zpos (XO (XO (XO (XO (XI (XI
+    XH))))))) :: ((Zpos (XI (XO (XO (XO (XO (XI XH))))))) :: ((Zpos (XI (XI
+    (XO (XO (XO (XI XH))))))) :: ((Zpos (XI (XO (XI (XO (XO (XI
+    XH))))))) :: []))))))))))))), (KNamed ((Zpos (XI (XO (XO (XO (XO (XI
+    XH))))))) :: ((Zpos (XO (XO (XI (XI (XO (XI XH))))))) :: ((Zpos (XO (XO
+    (XI (XO (XI (XI XH))))))) :: ((Zpos (XI (XO (XI (XI (XO
+    XH)))))) :: ((Zpos (XO (XI (XO (XO (XO (XI XH))))))) :: ((Zpos (XI (XO
+    (XO (XO (XO (XI XH))))))) :: ((Zpos (XI (XI (XO (XO (XO (XI
+    XH))))))) :: ((Zpos (XI (XI (XO (XI (XO (XI XH))))))) :: ((Zpos (XI (XI
+    (XO (XO (XI (XI XH))))))) :: ((Zpos (XO (XO (XO (XO (XI (XI
+    XH))))))) :: ((Zpos (XI (XO (XO (XO (XO (XI XH))))))) :: ((Zpos (XI (XI
+    (XO (XO (XO (XI XH))))))) :: ((Zpos (XI (XO (XI (XO (XO (XI
+    XH))))))) :: []))))))))))))))) :: ((((Zpos (XI (XO (XO (XO (XO (XI
+    XH))))))) :: ((Zpos (XO (XO (XI (XI (XO (XI XH))))))) :: ((Zpos (XO (XO
+    (XI (XO (XI (XI XH))))))) :: ((Zpos (XI (XO (XI (XI (XO
+    XH)))))) :: ((Zpos (XI (XO (XI (XO (XI (XI XH))))))) :: ((Zpos (XO (XO
+    (XO (XO (XI (XI XH))))))) :: [])))))), (KNamed ((Zpos (XI (XO (XO (XO (XO
+    (XI XH))))))) :: ((Zpos (XO (XO (XI (XI (XO (XI XH))))))) :: ((Zpos (XO
+    (XO (XI (XO (XI (XI XH))))))) :: ((Zpos (XI (XO (XI (XI (XO
+    XH)))))) :: ((Zpos (XI (XO (XI (XO (XI (XI XH))))))) :: ((Zpos (XO (XO
+    (XO (XO (XI (XI XH))))))) :: [])))))))) :: ((((Zpos (XI (XO (XO (XO (XO
+    (XI XH))))))) :: ((Zpos (XO (XO (XI (XI (XO (XI XH))))))) :: ((Zpos (XO
+    (XO (XI (XO (XI (XI XH))))))) :: ((Zpos (XI (XO (XI (XI (XO
+    XH)))))) :: ((Zpos (XO (XO (XI (XO (XO (XI XH))))))) :: ((Zpos (XI (XI
+    (XI (XI (XO (XI XH))))))) :: ((Zpos (XI (XI (XI (XO (XI (XI
+    XH))))))) :: ((Zpos (XO (XI (XI (XI (XO (XI XH))))))) :: [])))))))),
+    (KNamed ((Zpos (XI (XO (XO (XO (XO (XI XH))))))) :: ((Zpos (XO (XO (XI
+    (XI (XO (XI XH))))))) :: ((Zpos (XO (XO (XI (XO (XI (XI
+    XH))))))) :: ((Zpos (XI (XO (XI (XI (XO XH)))))) :: ((Zpos (XO (XO (XI
+    (XO (XO (XI XH))))))) :: ((Zpos (XI (XI (XI (XI (XO (XI
+    XH))))))) :: ((Zpos (XI (XI (XI (XO (XI (XI XH))))))) :: ((Zpos (XO (XI
+    (XI (XI (XO (XI XH))))))) :: [])))))))))) :: ((((Zpos (XI (XO (XO (XO (XO
+    (XI XH))))))) :: ((Zpos (XO (XO (XI (XI (XO (XI XH))))))) :: ((Zpos (XO
+    (XO (XI (XO (XI (XI XH))))))) :: ((Zpos (XI (XO (XI (XI (XO
+    XH)))))) :: ((Zpos (XO (XO (XI (XI (XO (XI XH))))))) :: ((Zpos (XI (XO
+    (XI (XO (XO (XI XH))))))) :: ((Zpos (XO (XI (XI (XO (XO (XI
+    XH))))))) :: ((Zpos (XO (XO (XI (XO (XI (XI XH))))))) :: [])))))))),
+    (KNamed ((Zpos (XI (XO (XO (XO (XO (XI XH))))))) :: ((Zpos (XO (XO (XI
+    (XI (XO (XI XH))))))) :: ((Zpos (XO (XO (XI (XO (XI (XI
+    XH))))))) :: ((Zpos (XI (XO (XI (XI (XO XH)))))) :: ((Zpos (XO (XO (XI
+    (XI (XO (XI XH))))))) :: ((Zpos (XI (XO (XI (XO (XO (XI
+    XH))))))) :: ((Zpos (XO (XI (XI (XO (XO (XI XH))))))) :: ((Zpos (XO (XO
+    (XI (XO (XI (XI XH))))))) :: [])))))))))) :: ((((Zpos (XI (XO (XO (XO (XO
+    (XI XH))))))) :: ((Zpos (XO (XO (XI (XI (XO (XI XH))))))) :: ((Zpos (XO
+    (XO (XI (XO (XI (XI XH))))))) :: ((Zpos (XI (XO (XI (XI (XO
+    XH)))))) :: ((Zpos (XO (XI (XO (XO (XI (XI XH))))))) :: ((Zpos (XI (XO
+    (XO (XI (XO (XI XH))))))) :: ((Zpos (XI (XI (XI (XO (XO (XI
+    XH))))))) :: ((Zpos (XO (XO (XO (XI (XO (XI XH))))))) :: ((Zpos (XO (XO
+    (XI (XO (XI (XI XH))))))) :: []))))))))), (KNamed ((Zpos (XI (XO (XO (XO
+    (XO (XI XH))))))) :: ((Zpos (XO (XO (XI (XI (XO (XI XH))))))) :: ((Zpos
+    (XO (XO (XI (XO (XI (XI XH))))))) :: ((Zpos (XI (XO (XI (XI (XO
+    XH)))))) :: ((Zpos (XO (XI (XO (XO (XI (XI XH))))))) :: ((Zpos (XI (XO
+    (XO (XI (XO (XI XH))))))) :: ((Zpos (XI (XI (XI (XO (XO (XI
+    XH))))))) :: ((Zpos (XO (XO (XO (XI (XO (XI XH))))))) :: ((Zpos (XO (XO
+    (XI (XO (XI (XI XH))))))) :: []))))))))))) :: ((((Zpos (XO (XO (XI (XO
+    (XI (XI XH))))))) :: ((Zpos (XI (XO (XO (XO (XO (XI XH))))))) :: ((Zpos
+    (XO (XI (XO (XO (XO (XI XH))))))) :: []))), (KCtrl (Zpos (XO (XO (XO
+    XH)))))) :: ((((Zpos (XO (XI (XO (XO (XO (XI XH))))))) :: ((Zpos (XO (XO
+    (XI (XO (XI (XI XH))))))) :: ((Zpos (XI (XO (XO (XO (XO (XI
+    XH))))))) :: ((Zpos (XO (XI (XO (XO (XO (XI XH))))))) :: [])))), (KNamed
+    ((Zpos (XI (XI (XO (XO (XI (XI XH))))))) :: ((Zpos (XO (XO (XO (XI (XO
+    (XI XH))))))) :: ((Zpos (XI (XO (XO (XI (XO (XI XH))))))) :: ((Zpos (XO
+    (XI (XI (XO (XO (XI XH))))))) :: ((Zpos (XO (XO (XI (XO (XI (XI
+    XH))))))) :: ((Zpos (XI (XO (XI (XI (XO XH)))))) :: ((Zpos (XO (XO (XI
+    (XO (XI (XI XH))))))) :: ((Zpos (XI (XO (XO (XO (XO (XI
+    XH))))))) :: ((Zpos (XO (XI (XO (XO (XO (XI
+    XH))))))) :: []))))))))))) :: ((((Zpos (XI (XI (XO (XO (XI (XI
+    XH))))))) :: ((Zpos (XO (XO (XO (XI (XO (XI XH))))))) :: ((Zpos (XI (XO
+    (XO (XI (XO (XI XH))))))) :: ((Zpos (XO (XI (XI (XO (XO (XI
+    XH))))))) :: ((Zpos (XO (XO (XI (XO (XI (XI XH))))))) :: ((Zpos (XI (XO
+    (XI (XI (XO XH)))))) :: ((Zpos (XO (XO (XI (XO (XI (XI
+    XH))))))) :: ((Zpos (XI (XO (XO (XO (XO (XI XH))))))) :: ((Zpos (XO (XI
+    (XO (XO (XO (XI XH))))))) :: []))))))))), (KNamed ((Zpos (XI (XI (XO (XO
+    (XI (XI XH))))))) :: ((Zpos (XO (XO (XO (XI (XO (XI XH))))))) :: ((Zpos
+    (XI (XO (XO (XI (XO (XI XH))))))) :: ((Zpos (XO (XI (XI (XO (XO (XI
+    XH))))))) :: ((Zpos (XO (XO (XI (XO (XI (XI XH))))))) :: ((Zpos (XI (XO
+    (XI (XI (XO XH)))))) :: ((Zpos (XO (XO (XI (XO (XI (XI
+    XH))))))) :: ((Zpos (XI (XO (XO (XO (XO (XI XH))))))) :: ((Zpos (XO (XI
+    (XO (XO (XO (XI XH))))))) :: []))))))))))) :: ((((Zpos (XI (XO (XI (XO
+    (XO (XI XH))))))) :: ((Zpos (XI (XI (XO (XO (XI (XI XH))))))) :: ((Zpos
+    (XI (XI (XO (XO (XO (XI XH))))))) :: []))), (KNamed ((Zpos (XI (XO (XI
+    (XO (XO (XI XH))))))) :: ((Zpos (XI (XI (XO (XO (XI (XI
+    XH))))))) :: ((Zpos (XI (XI (XO (XO (XO (XI
+    XH))))))) :: []))))) :: ((((Zpos (XO (XO (XI (XO (XO (XI
+    XH))))))) :: ((Zpos (XI (XO (XI (XO (XO (XI XH))))))) :: ((Zpos (XO (XO
+    (XI (XI (XO (XI XH))))))) :: ((Zpos (XI (XO (XI (XO (XO (XI
+    XH))))))) :: ((Zpos (XO (XO (XI (XO (XI (XI XH))))))) :: ((Zpos (XI (XO
+    (XI (XO (XO (XI XH))))))) :: [])))))), (KNamed ((Zpos (XO (XO (XI (XO (XO
+    (XI XH))))))) :: ((Zpos (XI (XO (XI (XO (XO (XI XH))))))) :: ((Zpos (XO
+    (XO (XI (XI (XO (XI XH))))))) :: ((Zpos (XI (XO (XI (XO (XO (XI
+    XH))))))) :: ((Zpos (XO (XO (XI (XO (XI (XI XH))))))) :: ((Zpos (XI (XO
+    (XI (XO (XO (XI XH))))))) :: [])))))))) :: ((((Zpos (XO (XO (XI (XO (XO
+    (XI XH))))))) :: ((Zpos (XI (XO (XI (XO (XO (XI XH))))))) :: ((Zpos (XO
+    (XO (XI (XI (XO (XI XH))))))) :: []))), (KNamed ((Zpos (XO (XO (XI (XO
+    (XO (XI XH))))))) :: ((Zpos (XI (XO (XI (XO (XO (XI XH))))))) :: ((Zpos
+    (XO (XO (XI (XI (XO (XI XH))))))) :: ((Zpos (XI (XO (XI (XO (XO (XI
+    XH))))))) :: ((Zpos (XO (XO (XI (XO (XI (XI XH))))))) :: ((Zpos (XI (XO
+    (XI (XO (XO (XI XH))))))) :: [])))))))) :: ((((Zpos (XO (XO (XO (XI (XO
+    (XI XH))))))) :: ((Zpos (XI (XI (XI (XI (XO (XI XH))))))) :: ((Zpos (XI
+    (XO (XI (XI (XO (XI XH))))))) :: ((Zpos (XI (XO (XI (XO (XO (XI
+    XH))))))) :: [])))), (KNamed ((Zpos (XO (XO (XO (XI (XO (XI
+    XH))))))) :: ((Zpos (XI (XI (XI (XI (XO (XI XH))))))) :: ((Zpos (XI (XO
+    (XI (XI (XO (XI XH))))))) :: ((Zpos (XI (XO (XI (XO (XO (XI
+    XH))))))) :: [])))))) :: ((((Zpos (XI (XO (XI (XO (XO (XI
+    XH))))))) :: ((Zpos (XO (XI (XI (XI (XO (XI XH))))))) :: ((Zpos (XO (XO
+    (XI (XO (XO (XI XH))))))) :: []))), (KNamed ((Zpos (XI (XO (XI (XO (XO
+    (XI XH))))))) :: ((Zpos (XO (XI (XI (XI (XO (XI XH))))))) :: ((Zpos (XO
+    (XO (XI (XO (XO (XI XH))))))) :: []))))) :: ((((Zpos (XI (XO (XO (XI (XO
+    (XI XH))))))) :: ((Zpos (XO (XI (XI (XI (XO (XI XH))))))) :: ((Zpos (XI
+    (XI (XO (XO (XI (XI XH))))))) :: ((Zpos (XI (XO (XI (XO (XO (XI
+    XH))))))) :: ((Zpos (XO (XI (XO (XO (XI (XI XH))))))) :: ((Zpos (XO (XO
+    (XI (XO (XI (XI XH))))))) :: [])))))), (KNamed ((Zpos (XI (XO (XO (XI (XO
+    (XI XH))))))) :: ((Zpos (XO (XI (XI (XI (XO (XI XH))))))) :: ((Zpos (XI
+    (XI (XO (XO (XI (XI XH))))))) :: ((Zpos (XI (XO (XI (XO (XO (XI
+    XH))))))) :: ((Zpos (XO (XI (XO (XO (XI (XI XH))))))) :: ((Zpos (XO (XO
+    (XI (XO (XI (XI XH))))))) :: [])))))))) :: ((((Zpos (XO (XO (XO (XO (XI
+    (XI XH))))))) :: ((Zpos (XI (XI (XI (XO (XO (XI XH))))))) :: ((Zpos (XI
+    (XO (XI (XO (XI (XI XH))))))) :: ((Zpos (XO (XO (XO (XO (XI (XI
+    XH))))))) :: [])))), (KNamed ((Zpos (XO (XO (XO (XO (XI (XI
+    XH))))))) :: ((Zpos (XI (XO (XO (XO (XO (XI XH))))))) :: ((Zpos (XI (XI
+    (XI (XO (XO (XI XH))))))) :: ((Zpos (XI (XO (XI (XO (XO (XI
+    XH))))))) :: ((Zpos (XI (XO (XI (XI (XO XH)))))) :: ((Zpos (XI (XO (XI
+    (XO (XI (XI XH))))))) :: ((Zpos (XO (XO (XO (XO (XI (XI
+    XH))))))) :: []))))))))) :: ((((Zpos (XO (XO (XO (XO (XI (XI
+    XH))))))) :: ((Zpos (XI (XO (XO (XO (XO (XI XH))))))) :: ((Zpos (XI (XI
+    (XI (XO (XO (XI XH))))))) :: ((Zpos (XI (XO (XI (XO (XO (XI
+    XH))))))) :: ((Zpos (XI (XO (XI (XI (XO XH)))))) :: ((Zpos (XI (XO (XI
+    (XO (XI (XI XH))))))) :: ((Zpos (XO (XO (XO (XO (XI (XI
+    XH))))))) :: []))))))), (KNamed ((Zpos (XO (XO (XO (XO (XI (XI
+    XH))))))) :: ((Zpos (XI (XO (XO (XO (XO (XI XH))))))) :: ((Zpos (XI (XI
+    (XI (XO (XO (XI XH))))))) :: ((Zpos (XI (XO (XI (XO (XO (XI
+    XH))))))) :: ((Zpos (XI (XO (XI (XI (XO XH)))))) :: ((Zpos (XI (XO (XI
+    (XO (XI (XI XH))))))) :: ((Zpos (XO (XO (XO (XO (XI (XI
+    XH))))))) :: []))))))))) :: ((((Zpos (XO (XO (XO (XO (XI (XI
+    XH))))))) :: ((Zpos (XI (XI (XI (XO (XO (XI XH))))))) :: ((Zpos (XO (XO
+    (XI (XO (XO (XI XH))))))) :: ((Zpos (XO (XI (XI (XI (XO (XI
+    XH))))))) :: [])))), (KNamed ((Zpos (XO (XO (XO (XO (XI (XI
+    XH))))))) :: ((Zpos (XI (XO (XO (XO (XO (XI XH))))))) :: ((Zpos (XI (XI
+    (XI (XO (XO (XI XH))))))) :: ((Zpos (XI (XO (XI (XO (XO (XI
+    XH))))))) :: ((Zpos (XI (XO (XI (XI (XO XH)))))) :: ((Zpos (XO (XO (XI
+    (XO (XO (XI XH))))))) :: ((Zpos (XI (XI (XI (XI (XO (XI
+    XH))))))) :: ((Zpos (XI (XI (XI (XO (XI (XI XH))))))) :: ((Zpos (XO (XI
+    (XI (XI (XO (XI XH))))))) :: []))))))))))) :: ((((Zpos (XO (XO (XO (XO
+    (XI (XI XH))))))) :: ((Zpos (XI (XO (XO (XO (XO (XI XH))))))) :: ((Zpos
+    (XI (XI (XI (XO (XO (XI XH))))))) :: ((Zpos (XI (XO (XI (XO (XO (XI
+    XH))))))) :: ((Zpos (XI (XO (XI (XI (XO XH)))))) :: ((Zpos (XO (XO (XI
+    (XO (XO (XI XH))))))) :: ((Zpos (XI (XI (XI (XI (XO (XI
+    XH))))))) :: ((Zpos (XI (XI (XI (XO (XI (XI XH))))))) :: ((Zpos (XO (XI
+    (XI (XI (XO (XI XH))))))) :: []))))))))), (KNamed ((Zpos (XO (XO (XO (XO
+    (XI (XI XH))))))) :: ((Zpos (XI (XO (XO (XO (XO (XI XH))))))) :: ((Zpos
+    (XI (XI (XI (XO (XO (XI XH))))))) :: ((Zpos (XI (XO (XI (XO (XO (XI
+    XH))))))) :: ((Zpos (XI (XO (XI (XI (XO XH)))))) :: ((Zpos (XO (XO (XI
+    (XO (XO (XI XH))))))) :: ((Zpos (XI (XI (XI (XI (XO (XI
+    XH))))))) :: ((Zpos (XI (XI (XI (XO (XI (XI XH))))))) :: ((Zpos (XO (XI
+    (XI (XI (XO (XI XH))))))) :: []))))))))))) :: ((((Zpos (XI (XO (XO (XO
+    (XO (XI XH))))))) :: ((Zpos (XO (XO (XI (XI (XO (XI XH))))))) :: ((Zpos
+    (XO (XO (XI (XO (XI (XI XH))))))) :: ((Zpos (XI (XO (XI (XI (XO
+    XH)))))) :: ((Zpos (XI (XI (XO (XO (XI (XI XH))))))) :: ((Zpos (XO (XO
+    (XO (XI (XO (XI XH))))))) :: ((Zpos (XI (XO (XO (XI (XO (XI
+    XH))))))) :: ((Zpos (XO (XI (XI (XO (XO (XI XH))))))) :: ((Zpos (XO (XO
+    (XI (XO (XI (XI XH))))))) :: ((Zpos (XI (XO (XI (XI (XO
+    XH)))))) :: ((Zpos (XI (XO (XI (XO (XI (XI XH))))))) :: ((Zpos (XO (XO
+    (XO (XO (XI (XI XH))))))) :: [])))))))))))), (KNamed ((Zpos (XI (XO (XO
+    (XO (XO (XI XH))))))) :: ((Zpos (XO (XO (XI (XI (XO (XI
+    XH))))))) :: ((Zpos (XO (XO (XI (XO (XI (XI XH))))))) :: ((Zpos (XI (XO
+    (XI (XI (XO XH)))))) :: ((Zpos (XI (XI (XO (XO (XI (XI
+    XH))))))) :: ((Zpos (XO (XO (XO (XI (XO (XI XH))))))) :: ((Zpos (XI (XO
+    (XO (XI (XO (XI XH))))))) :: ((Zpos (XO (XI (XI (XO (XO (XI
+    XH))))))) :: ((Zpos (XO (XO (XI (XO (XI (XI XH))))))) :: ((Zpos (XI (XO
+    (XI (XI (XO XH)))))) :: ((Zpos (XI (XO (XI (XO (XI (XI
+    XH))))))) :: ((Zpos (XO (XO (XO (XO (XI (XI
+    XH))))))) :: [])))))))))))))) :: ((((Zpos (XI (XI (XO (XO (XI (XI
+    XH))))))) :: ((Zpos (XO (XO (XO (XI (XO (XI XH))))))) :: ((Zpos (XI (XO
+    (XO (XI (XO (XI XH))))))) :: ((Zpos (XO (XI (XI (XO (XO (XI
+    XH))))))) :: ((Zpos (XO (XO (XI (XO (XI (XI XH))))))) :: ((Zpos (XI (XO
+    (XI (XI (XO XH)))))) :: ((Zpos (XI (XO (XO (XO (XO (XI
+    XH))))))) :: ((Zpos (XO (XO (XI (XI (XO (XI XH))))))) :: ((Zpos (XO (XO
+    (XI (XO (XI (XI XH))))))) :: ((Zpos (XI (XO (XI (XI (XO
+    XH)))))) :: ((Zpos (XI (XO (XI (XO (XI (XI XH))))))) :: ((Zpos (XO (XO
+    (XO (XO (XI (XI XH))))))) :: [])))))))))))), (KNamed ((Zpos (XI (XO (XO
+    (XO (XO (XI XH))))))) :: ((Zpos (XO (XO (XI (XI (XO (XI
+    XH))))))) :: ((Zpos (XO (XO (XI (XO (XI (XI XH))))))) :: ((Zpos (XI (XO
+    (XI (XI (XO XH)))))) :: ((Zpos (XI (XI (XO (XO (XI (XI
+    XH))))))) :: ((Zpos (XO (XO (XO (XI (XO (XI XH))))))) :: ((Zpos (XI (XO
+    (XO (XI (XO (XI XH))))))) :: ((Zpos (XO (XI (XI (XO (XO (XI
+    XH))))))) :: ((Zpos (XO (XO (XI (XO (XI (XI XH))))))) :: ((Zpos (XI (XO
+    (XI (XI (XO XH)))))) :: ((Zpos (XI (XO (XI (XO (XI (XI
+    XH))))))) :: ((Zpos (XO (XO (XO (XO (XI (XI
+    XH))))))) :: [])))))))))))))) :: ((((Zpos (XI (XO (XO (XO (XO (XI
+    XH))))))) :: ((Zpos (XO (XO (XI (XI (XO (XI XH))))))) :: ((Zpos (XO (XO
+    (XI (XO (XI (XI XH))))))) :: ((Zpos (XI (XO (XI (XI (XO
+    XH)))))) :: ((Zpos (XI (XI (XO (XO (XI (XI XH))))))) :: ((Zpos (XO (XO
+    (XO (XI (XO (XI XH))))))) :: ((Zpos (XI (XO (XO (XI (XO (XI
+    XH))))))) :: ((Zpos (XO (XI (XI (XO (XO (XI XH))))))) :: ((Zpos (XO (XO
+    (XI (XO (XI (XI XH))))))) :: ((Zpos (XI (XO (XI (XI (XO
+    XH)))))) :: ((Zpos (XO (XO (XI (XO (XO (XI XH))))))) :: ((Zpos (XI (XI
+    (XI (XI (XO (XI XH))))))) :: ((Zpos (XI (XI (XI (XO (XI (XI
+    XH))))))) :: ((Zpos (XO (XI (XI (XI (XO (XI
+    XH))))))) :: [])))))))))))))), (KNamed ((Zpos (XI (XO (XO (XO (XO (XI
+    XH))))))) :: ((Zpos (XO (XO (XI (XI (XO (XI XH))))))) :: ((Zpos (XO (XO
+    (XI (XO (XI (XI XH))))))) :: ((Zpos (XI (XO (XI (XI (XO
+    XH)))))) :: ((Zpos (XI (XI (XO (XO (XI (XI XH))))))) :: ((Zpos (XO (XO
+    (XO (XI (XO (XI XH))))))) :: ((Zpos (XI (XO (XO (XI (XO (XI
+    XH))))))) :: ((Zpos (XO (XI (XI (XO (XO (XI XH))))))) :: ((Zpos (XO (XO
+    (XI (XO (XI (XI XH))))))) :: ((Zpos (XI (XO (XI (XI (XO
+    XH)))))) :: ((Zpos (XO (XO (XI (XO (XO (XI XH))))))) :: ((Zpos (XI (XI
+    (XI (XI (XO (XI XH))))))) :: ((Zpos (XI (XI (XI (XO (XI (XI
+    XH))))))) :: ((Zpos (XO (XI (XI (XI (XO (XI
+    XH))))))) :: [])))))))))))))))) :: ((((Zpos (XI (XI (XO (XO (XI (XI
+    XH))))))) :: ((Zpos (XO (XO (XO (XI (XO (XI XH))))))) :: ((Zpos (XI (XO
+    (XO (XI (XO (XI XH))))))) :: ((Zpos (XO (XI (XI (XO (XO (XI
+    XH))))))) :: ((Zpos (XO (XO (XI (XO (XI (XI XH))))))) :: ((Zpos (XI (XO
+    (XI (XI (XO XH)))))) :: ((Zpos (XI (XO (XO (XO (XO (XI
+    XH))))))) :: ((Zpos (XO (XO (XI (XI (XO (XI XH))))))) :: ((Zpos (XO (XO
+    (XI (XO (XI (XI XH))))))) :: ((Zpos (XI (XO (XI (XI (XO
+    XH)))))) :: ((Zpos (XO (XO (XI (XO (XO (XI XH))))))) :: ((Zpos (XI (XI
+    (XI (XI (XO (XI XH))))))) :: ((Zpos (XI (XI (XI (XO (XI (XI
+    XH))))))) :: ((Zpos (XO (XI (XI (XI (XO (XI
+    XH))))))) :: [])))))))))))))), (KNamed ((Zpos (XI (XO (XO (XO (XO (XI
+    XH))))))) :: ((Zpos (XO (XO (XI (XI (XO (XI XH))))))) :: ((Zpos (XO (XO
+    (XI (XO (XI (XI XH))))))) :: ((Zpos (XI (XO (XI (XI (XO
+    XH)))))) :: ((Zpos (XI (XI (XO (XO (XI (XI XH))))))) :: ((Zpos (XO (XO
+    (XO (XI (XO (XI XH))))))) :: ((Zpos (XI (XO (XO (XI (XO (XI
+    XH))))))) :: ((Zpos (XO (XI (XI (XO (XO (XI XH))))))) :: ((Zpos (XO (XO
+    (XI (XO (XI (XI XH))))))) :: ((Zpos (XI (XO (XI (XI (XO
+    XH)))))) :: ((Zpos (XO (XO (XI (XO (XO (XI XH))))))) :: ((Zpos (XI (XI
+    (XI (XI (XO (XI XH))))))) :: ((Zpos (XI (XI (XI (XO (XI (XI
+    XH))))))) :: ((Zpos (XO (XI (XI (XI (XO (XI
+    XH))))))) :: [])))))))))))))))) :: ((((Zpos (XI (XO (XO (XO (XO (XI
+    XH))))))) :: ((Zpos (XO (XO (XI (XI (XO (XI XH))))))) :: ((Zpos (XO (XO
+    (XI (XO (XI (XI XH))))))) :: ((Zpos (XI (XO (XI (XI (XO
+    XH)))))) :: ((Zpos (XI (XI (XO (XO (XI (XI XH))))))) :: ((Zpos (XO (XO
+    (XO (XI (XO (XI XH))))))) :: ((Zpos (XI (XO (XO (XI (XO (XI
+    XH))))))) :: ((Zpos (XO (XI (XI (XO (XO (XI XH))))))) :: ((Zpos (XO (XO
+    (XI (XO (XI (XI XH))))))) :: ((Zpos (XI (XO (XI (XI (XO
+    XH)))))) :: ((Zpos (XO (XO (XI (XI (XO (XI XH))))))) :: ((Zpos (XI (XO
+    (XI (XO (XO (XI XH))))))) :: ((Zpos (XO (XI (XI (XO (XO (XI
+    XH))))))) :: ((Zpos (XO (XO (XI (XO (XI (XI
+    XH))))))) :: [])))))))))))))), (KNamed ((Zpos (XI (XO (XO (XO (XO (XI
+    XH))))))) :: ((Zpos (XO (XO (XI (XI (XO (XI XH))))))) :: ((Zpos (XO (XO
+    (XI (XO (XI (XI XH))))))) :: ((Zpos (XI (XO (XI (XI (XO
+    XH)))))) :: ((Zpos (XI (XI (XO (XO (XI (XI XH))))))) :: ((Zpos (XO (XO
+    (XO (XI (XO (XI XH))))))) :: ((Zpos (XI (XO (XO (XI (XO (XI
+    XH))))))) :: ((Zpos (XO (XI (XI (XO (XO (XI XH))))))) :: ((Zpos (XO (XO
+    (XI (XO (XI (XI XH))))))) :: ((Zpos (XI (XO (XI (XI (XO
+    XH)))))) :: ((Zpos (XO (XO (XI (XI (XO (XI XH))))))) :: ((Zpos (XI (XO
+    (XI (XO (XO (XI XH))))))) :: ((Zpos (XO (XI (XI (XO (XO (XI
+    XH))))))) :: ((Zpos (XO (XO (XI (XO (XI (XI
+    XH))))))) :: [])))))))))))))))) :: ((((Zpos (XI (XI (XO (XO (XI (XI
+    XH))))))) :: ((Zpos (XO (XO (XO (XI (XO (XI XH))))))) :: ((Zpos (XI (XO
+    (XO (XI (XO (XI XH))))))) :: ((Zpos (XO (XI (XI (XO (XO (XI
+    XH))))))) :: ((Zpos (XO (XO (XI (XO (XI (XI XH))))))) :: ((Zpos (XI (XO
+    (XI (XI (XO XH)))))) :: ((Zpos (XI (XO (XO (XO (XO (XI
+    XH))))))) :: ((Zpos (XO (XO (XI (XI (XO (XI XH))))))) :: ((Zpos (XO (XO
+    (XI (XO (XI (XI XH))))))) :: ((Zpos (XI (XO (XI (XI (XO
+    XH)))))) :: ((Zpos (XO (XO (XI (XI (XO (XI XH))))))) :: ((Zpos (XI (XO
+    (XI (XO (XO (XI XH))))))) :: ((Zpos (XO (XI (XI (XO (XO (XI
+    XH))))))) :: ((Zpos (XO (XO (XI (XO (XI (XI
+    XH))))))) :: [])))))))))))))), (KNamed ((Zpos (XI (XO (XO (XO (XO (XI
+    XH))))))) :: ((Zpos (XO (XO (XI (XI (XO (XI XH))))))) :: ((Zpos (XO (XO
+    (XI (XO (XI (XI XH))))))) :: ((Zpos (XI (XO (XI (XI (XO
+    XH)))))) :: ((Zpos (XI (XI (XO (XO (XI (XI XH))))))) :: ((Zpos (XO (XO
+    (XO (XI (XO (XI XH))))))) :: ((Zpos (XI (XO (XO (XI (XO (XI
+    XH))))))) :: ((Zpos (XO (XI (XI (XO (XO (XI XH))))))) :: ((Zpos (XO (XO
+    (XI (XO (XI (XI XH))))))) :: ((Zpos (XI (XO (XI (XI (XO
+    XH)))))) :: ((Zpos (XO (XO (XI (XI (XO (XI XH))))))) :: ((Zpos (XI (XO
+    (XI (XO (XO (XI XH))))))) :: ((Zpos (XO (XI (XI (XO (XO (XI
+    XH))))))) :: ((Zpos (XO (XO (XI (XO (XI (XI
+    XH))))))) :: [])))))))))))))))) :: ((((Zpos (XI (XO (XO (XO (XO (XI
+    XH))))))) :: ((Zpos (XO (XO (XI (XI (XO (XI XH))))))) :: ((Zpos (XO (XO
+    (XI (XO (XI (XI XH))))))) :: ((Zpos (XI (XO (XI (XI (XO
+    XH)))))) :: ((Zpos (XI (XI (XO (XO (XI (XI XH))))))) :: ((Zpos (XO (XO
+    (XO (XI (XO (XI XH))))))) :: ((Zpos (XI (XO (XO (XI (XO (XI
+    XH))))))) :: ((Zpos (XO (XI (XI (XO (XO (XI XH))))))) :: ((Zpos (XO (XO
+    (XI (XO (XI (XI XH))))))) :: ((Zpos (XI (XO (XI (XI (XO
+    XH)))))) :: ((Zpos (XO (XI (XO (XO (XI (XI XH))))))) :: ((Zpos (XI (XO
+    (XO (XI (XO (XI XH))))))) :: ((Zpos (XI (XI (XI (XO (XO (XI
+    XH))))))) :: ((Zpos (XO (XO (XO (XI (XO (XI XH))))))) :: ((Zpos (XO (XO
+    (XI (XO (XI (XI XH))))))) :: []))))))))))))))), (KNamed ((Zpos (XI (XO
+    (XO (XO (XO (XI XH))))))) :: ((Zpos (XO (XO (XI (XI (XO (XI
+    XH))))))) :: ((Zpos (XO (XO (XI (XO (XI (XI XH))))))) :: ((Zpos (XI (XO
+    (XI (XI (XO XH)))))) :: ((Zpos (XI (XI (XO (XO (XI (XI
+    XH))))))) :: ((Zpos (XO (XO (XO (XI (XO (XI XH))))))) :: ((Zpos (XI (XO
+    (XO (XI (XO (XI XH))))))) :: ((Zpos (XO (XI (XI (XO (XO (XI
+    XH))))))) :: ((Zpos (XO (XO (XI (XO (XI (XI XH))))))) :: ((Zpos (XI (XO
+    (XI (XI (XO XH)))))) :: ((Zpos (XO (XI (XO (XO (XI (XI
+    XH))))))) :: ((Zpos (XI (XO (XO (XI (XO (XI XH))))))) :: ((Zpos (XI (XI
+    (XI (XO (XO (XI XH))))))) :: ((Zpos (XO (XO (XO (XI (XO (XI
+    XH))))))) :: ((Zpos (XO (XO (XI (XO (XI (XI
+    XH))))))) :: []))))))))))))))))) :: ((((Zpos (XI (XI (XO (XO (XI (XI
+    XH))))))) :: ((Zpos (XO (XO (XO (XI (XO (XI XH))))))) :: ((Zpos (XI (XO
+    (XO (XI (XO (XI XH))))))) :: ((Zpos (XO (XI (XI (XO (XO (XI
+    XH))))))) :: ((Zpos (XO (XO (XI (XO (XI (XI XH))))))) :: ((Zpos (XI (XO
+    (XI (XI (XO XH)))))) :: ((Zpos (XI (XO (XO (XO (XO (XI
+    XH))))))) :: ((Zpos (XO (XO (XI (XI (XO (XI XH))))))) :: ((Zpos (XO (XO
+    (XI (XO (XI (XI XH))))))) :: ((Zpos (XI (XO (XI (XI (XO
+    XH)))))) :: ((Zpos (XO (XI (XO (XO (XI (XI XH))))))) :: ((Zpos (XI (XO
+    (XO (XI (XO (XI XH))))))) :: ((Zpos (XI (XI (XI (XO (XO (XI
+    XH))))))) :: ((Zpos (XO (XO (XO (XI (XO (XI XH))))))) :: ((Zpos (XO (XO
+    (XI (XO (XI (XI XH))))))) :: []))))))))))))))), (KNamed ((Zpos (XI (XO
+    (XO (XO (XO (XI XH))))))) :: ((Zpos (XO (XO (XI (XI (XO (XI
+    XH))))))) :: ((Zpos (XO (XO (XI (XO (XI (XI XH))))))) :: ((Zpos (XI (XO
+    (XI (XI (XO XH)))))) :: ((Zpos (XI (XI (XO (XO (XI (XI
+    XH))))))) :: ((Zpos (XO (XO (XO (XI (XO (XI XH))))))) :: ((Zpos (XI (XO
+    (XO (XI (XO (XI XH))))))) :: ((Zpos (XO (XI (XI (XO (XO (XI
+    XH))))))) :: ((Zpos (XO (XO (XI (XO (XI (XI XH))))))) :: ((Zpos (XI (XO
+    (XI (XI (XO XH)))))) :: ((Zpos (XO (XI (XO (XO (XI (XI
+    XH))))))) :: ((Zpos (XI (XO (XO (XI (XO (XI XH))))))) :: ((Zpos (XI (XI
+    (XI (XO (XO (XI XH))))))) :: ((Zpos (XO (XO (XO (XI (XO (XI
+    XH))))))) :: ((Zpos (XO (XO (XI (XO (XI (XI
+    XH))))))) :: []))))))))))))))))) :: ((((Zpos (XI (XI (XO (XO (XI (XI
+    XH))))))) :: ((Zpos (XO (XO (XO (XI (XO (XI XH))))))) :: ((Zpos (XI (XO
+    (XO (XI (XO (XI XH))))))) :: ((Zpos (XO (XI (XI (XO (XO (XI
+    XH))))))) :: ((Zpos (XO (XO (XI (XO (XI (XI XH))))))) :: ((Zpos (XI (XO
+    (XI (XI (XO XH)))))) :: ((Zpos (XI (XO (XI (XO (XI (XI
+    XH))))))) :: ((Zpos (XO (XO (XO (XO (XI (XI XH))))))) :: [])))))))),
+    (KNamed ((Zpos (XI (XI (XO (XO (XI (XI XH))))))) :: ((Zpos (XO (XO (XO
+    (XI (XO (XI XH))))))) :: ((Zpos (XI (XO (XO (XI (XO (XI
+    XH))))))) :: ((Zpos (XO (XI (XI (XO (XO (XI XH))))))) :: ((Zpos (XO (XO
+    (XI (XO (XI (XI XH))))))) :: ((Zpos (XI (XO (XI (XI (XO
+    XH)))))) :: ((Zpos (XI (XO (XI (XO (XI (XI XH))))))) :: ((Zpos (XO (XO
+    (XO (XO (XI (XI XH))))))) :: [])))))))))) :: ((((Zpos (XI (XI (XO (XO (XI
+    (XI XH))))))) :: ((Zpos (XO (XO (XO (XI (XO (XI XH))))))) :: ((Zpos (XI
+    (XO (XO (XI (XO (XI XH))))))) :: ((Zpos (XO (XI (XI (XO (XO (XI
+    XH))))))) :: ((Zpos (XO (XO (XI (XO (XI (XI XH))))))) :: ((Zpos (XI (XO
+    (XI (XI (XO XH)))))) :: ((Zpos (XO (XO (XI (XO (XO (XI
+    XH))))))) :: ((Zpos (XI (XI (XI (XI (XO (XI XH))))))) :: ((Zpos (XI (XI
+    (XI (XO (XI (XI XH))))))) :: ((Zpos (XO (XI (XI (XI (XO (XI
+    XH))))))) :: [])))))))))), (KNamed ((Zpos (XI (XI (XO (XO (XI (XI
+    XH))))))) :: ((Zpos (XO (XO (XO (XI (XO (XI XH))))))) :: ((Zpos (XI (XO
+    (XO (XI (XO (XI XH))))))) :: ((Zpos (XO (XI (XI (XO (XO (XI
+    XH))))))) :: ((Zpos (XO (XO (XI (XO (XI (XI XH))))))) :: ((Zpos (XI (XO
+    (XI (XI (XO XH)))))) :: ((Zpos (XO (XO (XI (XO (XO (XI
+    XH))))))) :: ((Zpos (XI (XI (XI (XI (XO (XI XH))))))) :: ((Zpos (XI (XI
+    (XI (XO (XI (XI XH))))))) :: ((Zpos (XO (XI (XI (XI (XO (XI
+    XH))))))) :: [])))))))))))) :: ((((Zpos (XI (XI (XO (XO (XI (XI
+    XH))))))) :: ((Zpos (XO (XO (XO (XI (XO (XI XH))))))) :: ((Zpos (XI (XO
+    (XO (XI (XO (XI XH))))))) :: ((Zpos (XO (XI (XI (XO (XO (XI
+    XH))))))) :: ((Zpos (XO (XO (XI (XO (XI (XI XH))))))) :: ((Zpos (XI (XO
+    (XI (XI (XO XH)))))) :: ((Zpos (XO (XO (XI (XI (XO (XI
+    XH))))))) :: ((Zpos (XI (XO (XI (XO (XO (XI XH))))))) :: ((Zpos (XO (XI
+    (XI (XO (XO (XI XH))))))) :: ((Zpos (XO (XO (XI (XO (XI (XI
+    XH))))))) :: [])))))))))), (KNamed ((Zpos (XI (XI (XO (XO (XI (XI
+    XH))))))) :: ((Zpos (XO (XO (XO (XI (XO (XI XH))))))) :: ((Zpos (XI (XO
+    (XO (XI (XO (XI XH))))))) :: ((Zpos (XO (XI (XI (XO (XO (XI
+    XH))))))) :: ((Zpos (XO (XO (XI (XO (XI (XI XH))))))) :: ((Zpos (XI (XO
+    (XI (XI (XO XH)))))) :: ((Zpos (XO (XO (XI (XI (XO (XI
+    XH))))))) :: ((Zpos (XI (XO (XI (XO (XO (XI XH))))))) :: ((Zpos (XO (XI
+    (XI (XO (XO (XI XH))))))) :: ((Zpos (XO (XO (XI (XO (XI (XI
+    XH))))))) :: [])))))))))))) :: ((((Zpos (XI (XI (XO (XO (XI (XI
+    XH))))))) :: ((Zpos (XO (XO (XO (XI (XO (XI XH))))))) :: ((Zpos (XI (XO
+    (XO (XI (XO (XI XH))))))) :: ((Zpos (XO (XI (XI (XO (XO (XI
+    XH))))))) :: ((Zpos (XO (XO (XI (XO (XI (XI XH))))))) :: ((Zpos (XI (XO
+    (XI (XI (XO XH)))))) :: ((Zpos (XO (XI (XO (XO (XI (XI
+    XH))))))) :: ((Zpos (XI (XO (XO (XI (XO (XI XH))))))) :: ((Zpos (XI (XI
+    (XI (XO (XO (XI XH))))))) :: ((Zpos (XO (XO (XO (XI (XO (XI
+    XH))))))) :: ((Zpos (XO (XO (XI (XO (XI (XI XH))))))) :: []))))))))))),
+    (KNamed ((Zpos (XI (XI (XO (XO (XI (XI XH))))))) :: ((Zpos (XO (XO (XO
+    (XI (XO (XI XH))))))) :: ((Zpos (XI (XO (XO (XI (XO (XI
+    XH))))))) :: ((Zpos (XO (XI (XI (XO (XO (XI XH))))))) :: ((Zpos (XO (XO
+    (XI (XO (XI (XI XH))))))) :: ((Zpos (XI (XO (XI (XI (XO
+    XH)))))) :: ((Zpos (XO (XI (XO (XO (XI (XI XH))))))) :: ((Zpos (XI (XO
+    (XO (XI (XO (XI XH))))))) :: ((Zpos (XI (XI (XI (XO (XO (XI
+    XH))))))) :: ((Zpos (XO (XO (XO (XI (XO (XI XH))))))) :: ((Zpos (XO (XO
+    (XI (XO (XI (XI XH))))))) :: []))))))))))))) :: ((((Zpos (XI (XI (XO (XO
+    (XI (XI XH))))))) :: ((Zpos (XO (XO (XO (XI (XO (XI XH))))))) :: ((Zpos
+    (XI (XO (XO (XI (XO (XI XH))))))) :: ((Zpos (XO (XI (XI (XO (XO (XI
+    XH))))))) :: ((Zpos (XO (XO (XI (XO (XI (XI XH))))))) :: ((Zpos (XI (XO
+    (XI (XI (XO XH)))))) :: ((Zpos (XO (XO (XI (XO (XO (XI
+    XH))))))) :: ((Zpos (XI (XO (XI (XO (XO (XI XH))))))) :: ((Zpos (XO (XO
+    (XI (XI (XO (XI XH))))))) :: ((Zpos (XI (XO (XI (XO (XO (XI
+    XH))))))) :: ((Zpos (XO (XO (XI (XO (XI (XI XH))))))) :: ((Zpos (XI (XO
+    (XI (XO (XO (XI XH))))))) :: [])))))))))))), (KNamed ((Zpos (XI (XI (XO
+    (XO (XI (XI XH))))))) :: ((Zpos (XO (XO (XO (XI (XO (XI
+    XH))))))) :: ((Zpos (XI (XO (XO (XI (XO (XI XH))))))) :: ((Zpos (XO (XI
+    (XI (XO (XO (XI XH))))))) :: ((Zpos (XO (XO (XI (XO (XI (XI
+    XH))))))) :: ((Zpos (XI (XO (XI (XI (XO XH)))))) :: ((Zpos (XO (XO (XI
+    (XO (XO (XI XH))))))) :: ((Zpos (XI (XO (XI (XO (XO (XI
+    XH))))))) :: ((Zpos (XO (XO (XI (XI (XO (XI XH))))))) :: ((Zpos (XI (XO
+    (XI (XO (XO (XI XH))))))) :: ((Zpos (XO (XO (XI (XO (XI (XI
+    XH))))))) :: ((Zpos (XI (XO (XI (XO (XO (XI
+    XH))))))) :: [])))))))))))))) :: ((((Zpos (XO (XO (XI (XI (XO (XI
+    XH))))))) :: ((Zpos (XI (XO (XI (XO (XO (XI XH))))))) :: ((Zpos (XO (XI
+    (XI (XO (XO (XI XH))))))) :: ((Zpos (XO (XO (XI (XO (XI (XI
+    XH))))))) :: ((Zpos (XI (XO (XI (XI (XO XH)))))) :: ((Zpos (XI (XI (XO
+    (XO (XO (XI XH))))))) :: ((Zpos (XO (XO (XI (XI (XO (XI
+    XH))))))) :: ((Zpos (XI (XO (XO (XI (XO (XI XH))))))) :: ((Zpos (XI (XI
+    (XO (XO (XO (XI XH))))))) :: ((Zpos (XI (XI (XO (XI (XO (XI
+    XH))))))) :: [])))))))))), (KNamed ((Zpos (XO (XO (XI (XI (XO (XI
+    XH))))))) :: ((Zpos (XI (XO (XI (XO (XO (XI XH))))))) :: ((Zpos (XO (XI
+    (XI (XO (XO (XI XH))))))) :: ((Zpos (XO (XO (XI (XO (XI (XI
+    XH))))))) :: ((Zpos (XI (XO (XI (XI (XO XH)))))) :: ((Zpos (XI (XI (XO
+    (XO (XO (XI XH))))))) :: ((Zpos (XO (XO (XI (XI (XO (XI
+    XH))))))) :: ((Zpos (XI (XO (XO (XI (XO (XI XH))))))) :: ((Zpos (XI (XI
+    (XO (XO (XO (XI XH))))))) :: ((Zpos (XI (XI (XO (XI (XO (XI
+    XH))))))) :: [])))))))))))) :: ((((Zpos (XO (XI (XO (XO (XI (XI
+    XH))))))) :: ((Zpos (XI (XO (XO (XI (XO (XI XH))))))) :: ((Zpos (XI (XI
+    (XI (XO (XO (XI XH))))))) :: ((Zpos (XO (XO (XO (XI (XO (XI
+    XH))))))) :: ((Zpos (XO (XO (XI (XO (XI (XI XH))))))) :: ((Zpos (XI (XO
+    (XI (XI (XO XH)))))) :: ((Zpos (XI (XI (XO (XO (XO (XI
+    XH))))))) :: ((Zpos (XO (XO (XI (XI (XO (XI XH))))))) :: ((Zpos (XI (XO
+    (XO (XI (XO (XI XH))))))) :: ((Zpos (XI (XI (XO (XO (XO (XI
+    XH))))))) :: ((Zpos (XI (XI (XO (XI (XO (XI XH))))))) :: []))))))))))),
+    (KNamed ((Zpos (XO (XI (XO (XO (XI (XI XH))))))) :: ((Zpos (XI (XO (XO
+    (XI (XO (XI XH))))))) :: ((Zpos (XI (XI (XI (XO (XO (XI
+    XH))))))) :: ((Zpos (XO (XO (XO (XI (XO (XI XH))))))) :: ((Zpos (XO (XO
+    (XI (XO (XI (XI XH))))))) :: ((Zpos (XI (XO (XI (XI (XO
+    XH)))))) :: ((Zpos (XI (XI (XO (XO (XO (XI XH))))))) :: ((Zpos (XO (XO
+    (XI (XI (XO (XI XH))))))) :: ((Zpos (XI (XO (XO (XI (XO (XI
+    XH))))))) :: ((Zpos (XI (XI (XO (XO (XO (XI XH))))))) :: ((Zpos (XI (XI
+    (XO (XI (XO (XI XH))))))) :: []))))))))))))) :: ((((Zpos (XI (XI (XO (XO
+    (XI (XI XH))))))) :: ((Zpos (XO (XO (XO (XI (XO (XI XH))))))) :: ((Zpos
+    (XI (XO (XO (XI (XO (XI XH))))))) :: ((Zpos (XO (XI (XI (XO (XO (XI
+    XH))))))) :: ((Zpos (XO (XO (XI (XO (XI (XI XH))))))) :: ((Zpos (XI (XO
+    (XI (XI (XO XH)))))) :: ((Zpos (XO (XO (XI (XI (XO (XI
+    XH))))))) :: ((Zpos (XI (XO (XI (XO (XO (XI XH))))))) :: ((Zpos (XO (XI
+    (XI (XO (XO (XI XH))))))) :: ((Zpos (XO (XO (XI (XO (XI (XI
+    XH))))))) :: ((Zpos (XI (XO (XI (XI (XO XH)))))) :: ((Zpos (XI (XI (XO
+    (XO (XO (XI XH))))))) :: ((Zpos (XO (XO (XI (XI (XO (XI
+    XH))))))) :: ((Zpos (XI (XO (XO (XI (XO (XI XH))))))) :: ((Zpos (XI (XI
+    (XO (XO (XO (XI XH))))))) :: ((Zpos (XI (XI (XO (XI (XO (XI
+    XH))))))) :: [])))))))))))))))), (KNamed ((Zpos (XI (XI (XO (XO (XI (XI
+    XH))))))) :: ((Zpos (XI (XO (XI (XI (XO XH)))))) :: ((Zpos (XO (XO (XI
+    (XI (XO (XI XH))))))) :: ((Zpos (XI (XO (XI (XO (XO (XI
+    XH))))))) :: ((Zpos (XO (XI (XI (XO (XO (XI XH))))))) :: ((Zpos (XO (XO
+    (XI (XO (XI (XI XH))))))) :: ((Zpos (XI (XO (XI (XI (XO
+    XH)))))) :: ((Zpos (XI (XI (XO (XO (XO (XI XH))))))) :: ((Zpos (XO (XO
+    (XI (XI (XO (XI XH))))))) :: ((Zpos (XI (XO (XO (XI (XO (XI
+    XH))))))) :: ((Zpos (XI (XI (XO (XO (XO (XI XH))))))) :: ((Zpos (XI (XI
+    (XO (XI (XO (XI XH))))))) :: [])))))))))))))) :: ((((Zpos (XI (XI (XO (XO
+    (XI (XI XH))))))) :: ((Zpos (XO (XO (XO (XI (XO (XI XH))))))) :: ((Zpos
+    (XI (XO (XO (XI (XO (XI XH))))))) :: ((Zpos (XO (XI (XI (XO (XO (XI
+    XH))))))) :: ((Zpos (XO (XO (XI (XO (XI (XI XH))))))) :: ((Zpos (XI (XO
+    (XI (XI (XO XH)))))) :: ((Zpos (XO (XI (XO (XO (XI (XI
+    XH))))))) :: ((Zpos (XI (XO (XO (XI (XO (XI XH))))))) :: ((Zpos (XI (XI
+    (XI (XO (XO (XI XH))))))) :: ((Zpos (XO (XO (XO (XI (XO (XI
+    XH))))))) :: ((Zpos (XO (XO (XI (XO (XI (XI XH))))))) :: ((Zpos (XI (XO
+    (XI (XI (XO XH)))))) :: ((Zpos (XI (XI (XO (XO (XO (XI
+    XH))))))) :: ((Zpos (XO (XO (XI (XI (XO (XI XH))))))) :: ((Zpos (XI (XO
+    (XO (XI (XO (XI XH))))))) :: ((Zpos (XI (XI (XO (XO (XO (XI
+    XH))))))) :: ((Zpos (XI (XI (XO (XI (XO (XI
+    XH))))))) :: []))))))))))))))))), (KNamed ((Zpos (XI (XI (XO (XO (XI (XI
+    XH))))))) :: ((Zpos (XI (XO (XI (XI (XO XH)))))) :: ((Zpos (XO (XI (XO
+    (XO (XI (XI XH))))))) :: ((Zpos (XI (XO (XO (XI (XO (XI
+    XH))))))) :: ((Zpos (XI (XI (XI (XO (XO (XI XH))))))) :: ((Zpos (XO (XO
+    (XO (XI (XO (XI XH))))))) :: ((Zpos (XO (XO (XI (XO (XI (XI
+    XH))))))) :: ((Zpos (XI (XO (XI (XI (XO XH)))))) :: ((Zpos (XI (XI (XO
+    (XO (XO (XI XH))))))) :: ((Zpos (XO (XO (XI (XI (XO (XI
+    XH))))))) :: ((Zpos (XI (XO (XO (XI (XO (XI XH))))))) :: ((Zpos (XI (XI
+    (XO (XO (XO (XI XH))))))) :: ((Zpos (XI (XI (XO (XI (XO (XI
+    XH))))))) :: []))))))))))))))) :: ((((Zpos (XO (XO (XI (XO (XO (XI
+    XH))))))) :: ((Zpos (XI (XI (XI (XI (XO (XI XH))))))) :: ((Zpos (XI (XO
+    (XI (XO (XI (XI XH))))))) :: ((Zpos (XO (XI (XO (XO (XO (XI
+    XH))))))) :: ((Zpos (XO (XO (XI (XI (XO (XI XH))))))) :: ((Zpos (XI (XO
+    (XI (XO (XO (XI XH))))))) :: ((Zpos (XI (XO (XI (XI (XO
+    XH)))))) :: ((Zpos (XI (XI (XO (XO (XO (XI XH))))))) :: ((Zpos (XO (XO
+    (XI (XI (XO (XI XH))))))) :: ((Zpos (XI (XO (XO (XI (XO (XI
+    XH))))))) :: ((Zpos (XI (XI (XO (XO (XO (XI XH))))))) :: ((Zpos (XI (XI
+    (XO (XI (XO (XI XH))))))) :: [])))))))))))), (KNamed ((Zpos (XO (XO (XI
+    (XO (XO (XI XH))))))) :: ((Zpos (XI (XI (XI (XI (XO (XI
+    XH))))))) :: ((Zpos (XI (XO (XI (XO (XI (XI XH))))))) :: ((Zpos (XO (XI
+    (XO (XO (XO (XI XH))))))) :: ((Zpos (XO (XO (XI (XI (XO (XI
+    XH))))))) :: ((Zpos (XI (XO (XI (XO (XO (XI XH))))))) :: ((Zpos (XI (XO
+    (XI (XI (XO XH)))))) :: ((Zpos (XI (XI (XO (XO (XO (XI
+    XH))))))) :: ((Zpos (XO (XO (XI (XI (XO (XI XH))))))) :: ((Zpos (XI (XO
+    (XO (XI (XO (XI XH))))))) :: ((Zpos (XI (XI (XO (XO (XO (XI
+    XH))))))) :: ((Zpos (XI (XI (XO (XI (XO (XI
+    XH))))))) :: [])))))))))))))) :: ((((Zpos (XI (XI (XO (XO (XI (XI
+    XH))))))) :: ((Zpos (XI (XI (XO (XO (XO (XI XH))))))) :: ((Zpos (XO (XI
+    (XO (XO (XI (XI XH))))))) :: ((Zpos (XI (XI (XI (XI (XO (XI
+    XH))))))) :: ((Zpos (XO (XO (XI (XI (XO (XI XH))))))) :: ((Zpos (XO (XO
+    (XI (XI (XO (XI XH))))))) :: ((Zpos (XI (XO (XI (XI (XO
+    XH)))))) :: ((Zpos (XI (XO (XI (XO (XI (XI XH))))))) :: ((Zpos (XO (XO
+    (XO (XO (XI (XI XH))))))) :: []))))))))), (KNamed ((Zpos (XI (XI (XO (XO
+    (XI (XI XH))))))) :: ((Zpos (XI (XI (XO (XO (XO (XI XH))))))) :: ((Zpos
+    (XO (XI (XO (XO (XI (XI XH))))))) :: ((Zpos (XI (XI (XI (XI (XO (XI
+    XH))))))) :: ((Zpos (XO (XO (XI (XI (XO (XI XH))))))) :: ((Zpos (XO (XO
+    (XI (XI (XO (XI XH))))))) :: ((Zpos (XI (XO (XI (XI (XO
+    XH)))))) :: ((Zpos (XI (XO (XI (XO (XI (XI XH))))))) :: ((Zpos (XO (XO
+    (XO (XO (XI (XI XH))))))) :: []))))))))))) :: ((((Zpos (XI (XI (XO (XO
+    (XI (XI XH))))))) :: ((Zpos (XI (XI (XO (XO (XO (XI XH))))))) :: ((Zpos
+    (XO (XI (XO (XO (XI (XI XH))))))) :: ((Zpos (XI (XI (XI (XI (XO (XI
+    XH))))))) :: ((Zpos (XO (XO (XI (XI (XO (XI XH))))))) :: ((Zpos (XO (XO
+    (XI (XI (XO (XI XH))))))) :: ((Zpos (XI (XO (XI (XI (XO
+    XH)))))) :: ((Zpos (XO (XO (XI (XO (XO (XI XH))))))) :: ((Zpos (XI (XI
+    (XI (XI (XO (XI XH))))))) :: ((Zpos (XI (XI (XI (XO (XI (XI
+    XH))))))) :: ((Zpos (XO (XI (XI (XI (XO (XI XH))))))) :: []))))))))))),
+    (KNamed ((Zpos (XI (XI (XO (XO (XI (XI XH))))))) :: ((Zpos (XI (XI (XO
+    (XO (XO (XI XH))))))) :: ((Zpos (XO (XI (XO (XO (XI (XI
+    XH))))))) :: ((Zpos (XI (XI (XI (XI (XO (XI XH))))))) :: ((Zpos (XO (XO
+    (XI (XI (XO (XI XH))))))) :: ((Zpos (XO (XO (XI (XI (XO (XI
+    XH))))))) :: ((Zpos (XI (XO (XI (XI (XO XH)))))) :: ((Zpos (XO (XO (XI
+    (XO (XO (XI XH))))))) :: ((Zpos (XI (XI (XI (XI (XO (XI
+    XH))))))) :: ((Zpos (XI (XI (XI (XO (XI (XI XH))))))) :: ((Zpos (XO (XI
+    (XI (XI (XO (XI XH))))))) :: []))))))))))))) :: ((((Zpos (XI (XI (XO (XO
+    (XI (XI XH))))))) :: ((Zpos (XO (XO (XO (XI (XO (XI XH))))))) :: ((Zpos
+    (XI (XO (XO (XI (XO (XI XH))))))) :: ((Zpos (XO (XI (XI (XO (XO (XI
+    XH))))))) :: ((Zpos (XO (XO (XI (XO (XI (XI XH))))))) :: ((Zpos (XI (XO
+    (XI (XI (XO XH)))))) :: ((Zpos (XI (XI (XO (XO (XI (XI
+    XH))))))) :: ((Zpos (XI (XI (XO (XO (XO (XI XH))))))) :: ((Zpos (XO (XI
+    (XO (XO (XI (XI XH))))))) :: ((Zpos (XI (XI (XI (XI (XO (XI
+    XH))))))) :: ((Zpos (XO (XO (XI (XI (XO (XI XH))))))) :: ((Zpos (XO (XO
+    (XI (XI (XO (XI XH))))))) :: ((Zpos (XI (XO (XI (XI (XO
+    XH)))))) :: ((Zpos (XI (XO (XI (XO (XI (XI XH))))))) :: ((Zpos (XO (XO
+    (XO (XO (XI (XI XH))))))) :: []))))))))))))))), (KNamed ((Zpos (XI (XI
+    (XO (XO (XI (XI XH))))))) :: ((Zpos (XI (XO (XI (XI (XO
+    XH)))))) :: ((Zpos (XI (XI (XO (XO (XI (XI XH))))))) :: ((Zpos (XI (XI
+    (XO (XO (XO (XI XH))))))) :: ((Zpos (XO (XI (XO (XO (XI (XI
+    XH))))))) :: ((Zpos (XI (XI (XI (XI (XO (XI XH))))))) :: ((Zpos (XO (XO
+    (XI (XI (XO (XI XH))))))) :: ((Zpos (XO (XO (XI (XI (XO (XI
+    XH))))))) :: ((Zpos (XI (XO (XI (XI (XO XH)))))) :: ((Zpos (XI (XO (XI
+    (XO (XI (XI XH))))))) :: ((Zpos (XO (XO (XO (XO (XI (XI
+    XH))))))) :: []))))))))))))) :: ((((Zpos (XI (XI (XO (XO (XI (XI
+    XH))))))) :: ((Zpos (XO (XO (XO (XI (XO (XI XH))))))) :: ((Zpos (XI (XO
+    (XO (XI (XO (XI XH))))))) :: ((Zpos (XO (XI (XI (XO (XO (XI
+    XH))))))) :: ((Zpos (XO (XO (XI (XO (XI (XI XH))))))) :: ((Zpos (XI (XO
+    (XI (XI (XO XH)))))) :: ((Zpos (XI (XI (XO (XO (XI (XI
+    XH))))))) :: ((Zpos (XI (XI (XO (XO (XO (XI XH))))))) :: ((Zpos (XO (XI
+    (XO (XO (XI (XI XH))))))) :: ((Zpos (XI (XI (XI (XI (XO (XI
+    XH))))))) :: ((Zpos (XO (XO (XI (XI (XO (XI XH))))))) :: ((Zpos (XO (XO
+    (XI (XI (XO (XI XH))))))) :: ((Zpos (XI (XO (XI (XI (XO
+    XH)))))) :: ((Zpos (XO (XO (XI (XO (XO (XI XH))))))) :: ((Zpos (XI (XI
+    (XI (XI (XO (XI XH))))))) :: ((Zpos (XI (XI (XI (XO (XI (XI
+    XH))))))) :: ((Zpos (XO (XI (XI (XI (XO (XI
+    XH))))))) :: []))))))))))))))))), (KNamed ((Zpos (XI (XI (XO (XO (XI (XI
+    XH))))))) :: ((Zpos (XI (XO (XI (XI (XO XH)))))) :: ((Zpos (XI (XI (XO
+    (XO (XI (XI XH))))))) :: ((Zpos (XI (XI (XO (XO (XO (XI
+    XH))))))) :: ((Zpos (XO (XI (XO (XO (XI (XI XH))))))) :: ((Zpos (XI (XI
+    (XI (XI (XO (XI XH))))))) :: ((Zpos (XO (XO (XI (XI (XO (XI
+    XH))))))) :: ((Zpos (XO (XO (XI (XI (XO (XI XH))))))) :: ((Zpos (XI (XO
+    (XI (XI (XO XH)))))) :: ((Zpos (XO (XO (XI (XO (XO (XI
+    XH))))))) :: ((Zpos (XI (XI (XI (XI (XO (XI XH))))))) :: ((Zpos (XI (XI
+    (XI (XO (XI (XI XH))))))) :: ((Zpos (XO (XI (XI (XI (XO (XI
+    XH))))))) :: []))))))))))))))) :: ((((Zpos (XO (XO (XO (XO (XI (XI
+    XH))))))) :: ((Zpos (XO (XI (XO (XO (XI (XI XH))))))) :: ((Zpos (XI (XO
+    (XI (XO (XO (XI XH))))))) :: ((Zpos (XO (XI (XI (XO (XI (XI
+    XH))))))) :: ((Zpos (XI (XO (XO (XI (XO (XI XH))))))) :: ((Zpos (XI (XO
+    (XI (XO (XO (XI XH))))))) :: ((Zpos (XI (XI (XI (XO (XI (XI
+    XH))))))) :: ((Zpos (XI (XO (XI (XI (XO XH)))))) :: ((Zpos (XI (XI (XO
+    (XO (XI (XI XH))))))) :: ((Zpos (XI (XI (XO (XO (XO (XI
+    XH))))))) :: ((Zpos (XO (XI (XO (XO (XI (XI XH))))))) :: ((Zpos (XI (XI
+    (XI (XI (XO (XI XH))))))) :: ((Zpos (XO (XO (XI (XI (XO (XI
+    XH))))))) :: ((Zpos (XO (XO (XI (XI (XO (XI XH))))))) :: ((Zpos (XI (XO
+    (XI (XI (XO XH)))))) :: ((Zpos (XI (XO (XI (XO (XI (XI
+    XH))))))) :: ((Zpos (XO (XO (XO (XO (XI (XI
+    XH))))))) :: []))))))))))))))))), (KNamed ((Zpos (XO (XO (XO (XO (XI (XI
+    XH))))))) :: ((Zpos (XO (XI (XO (XO (XI (XI XH))))))) :: ((Zpos (XI (XO
+    (XI (XO (XO (XI XH))))))) :: ((Zpos (XO (XI (XI (XO (XI (XI
+    XH))))))) :: ((Zpos (XI (XO (XO (XI (XO (XI XH))))))) :: ((Zpos (XI (XO
+    (XI (XO (XO (XI XH))))))) :: ((Zpos (XI (XI (XI (XO (XI (XI
+    XH))))))) :: ((Zpos (XI (XO (XI (XI (XO XH)))))) :: ((Zpos (XI (XI (XO
+    (XO (XI (XI XH))))))) :: ((Zpos (XI (XI (XO (XO (XO (XI
+    XH))))))) :: ((Zpos (XO (XI (XO (XO (XI (XI XH))))))) :: ((Zpos (XI (XI
+    (XI (XI (XO (XI XH))))))) :: ((Zpos (XO (XO (XI (XI (XO (XI
+    XH))))))) :: ((Zpos (XO (XO (XI (XI (XO (XI XH))))))) :: ((Zpos (XI (XO
+    (XI (XI (XO XH)))))) :: ((Zpos (XI (XO (XI (XO (XI (XI
+    XH))))))) :: ((Zpos (XO (XO (XO (XO (XI (XI
+    XH))))))) :: []))))))))))))))))))) :: ((((Zpos (XO (XO (XO (XO (XI (XI
+    XH))))))) :: ((Zpos (XO (XI (XO (XO (XI (XI XH))))))) :: ((Zpos (XI (XO
+    (XI (XO (XO (XI XH))))))) :: ((Zpos (XO (XI (XI (XO (XI (XI
+    XH))))))) :: ((Zpos (XI (XO (XO (XI (XO (XI XH))))))) :: ((Zpos (XI (XO
+    (XI (XO (XO (XI XH))))))) :: ((Zpos (XI (XI (XI (XO (XI (XI
+    XH))))))) :: ((Zpos (XI (XO (XI (XI (XO XH)))))) :: ((Zpos (XI (XI (XO
+    (XO (XI (XI XH))))))) :: ((Zpos (XI (XI (XO (XO (XO (XI
+    XH))))))) :: ((Zpos (XO (XI (XO (XO (XI (XI XH))))))) :: ((Zpos (XI (XI
+    (XI (XI (XO (XI XH))))))) :: ((Zpos (XO (XO (XI (XI (XO (XI
+    XH))))))) :: ((Zpos (XO (XO (XI (XI (XO (XI XH))))))) :: ((Zpos (XI (XO
+    (XI (XI (XO XH)))))) :: ((Zpos (XO (XO (XI (XO (XO (XI
+    XH))))))) :: ((Zpos (XI (XI (XI (XI (XO (XI XH))))))) :: ((Zpos (XI (XI
+    (XI (XO (XI (XI XH))))))) :: ((Zpos (XO (XI (XI (XI (XO (XI
+    XH))))))) :: []))))))))))))))))))), (KNamed ((Zpos (XO (XO (XO (XO (XI
+    (XI XH))))))) :: ((Zpos (XO (XI (XO (XO (XI (XI XH))))))) :: ((Zpos (XI
+    (XO (XI (XO (XO (XI XH))))))) :: ((Zpos (XO (XI (XI (XO (XI (XI
+    XH))))))) :: ((Zpos (XI (XO (XO (XI (XO (XI XH))))))) :: ((Zpos (XI (XO
+    (XI (XO (XO (XI XH))))))) :: ((Zpos (XI (XI (XI (XO (XI (XI
+    XH))))))) :: ((Zpos (XI (XO (XI (XI (XO XH)))))) :: ((Zpos (XI (XI (XO
+    (XO (XI (XI XH))))))) :: ((Zpos (XI (XI (XO (XO (XO (XI
+    XH))))))) :: ((Zpos (XO (XI (XO (XO (XI (XI XH))))))) :: ((Zpos (XI (XI
+    (XI (XI (XO (XI XH))))))) :: ((Zpos (XO (XO (XI (XI (XO (XI
+    XH))))))) :: ((Zpos (XO (XO (XI (XI (XO (XI XH))))))) :: ((Zpos (XI (XO
+    (XI (XI (XO XH)))))) :: ((Zpos (XO (XO (XI (XO (XO (XI
+    XH))))))) :: ((Zpos (XI (XI (XI (XI (XO (XI XH))))))) :: ((Zpos (XI (XI
+    (XI (XO (XI (XI XH))))))) :: ((Zpos (XO (XI (XI (XI (XO (XI
+    XH))))))) :: []))))))))))))))))))))) :: ((((Zpos (XO (XI (XI (XO (XO (XI
+    XH))))))) :: ((Zpos (XI (XO (XO (XO (XI XH)))))) :: ((Zpos (XO (XO (XO
+    (XO (XI XH)))))) :: []))), (KF (Zpos (XO (XI (XO XH)))))) :: ((((Zpos (XO
+    (XI (XI (XO (XO (XI XH))))))) :: ((Zpos (XI (XO (XO (XO (XI
+    XH)))))) :: ((Zpos (XI (XO (XO (XO (XI XH)))))) :: []))), (KF (Zpos (XI
+    (XI (XO XH)))))) :: ((((Zpos (XO (XI (XI (XO (XO (XI XH))))))) :: ((Zpos
+    (XI (XO (XO (XO (XI XH)))))) :: ((Zpos (XO (XI (XO (XO (XI
+    XH)))))) :: []))), (KF (Zpos (XO (XO (XI
+    XH)))))) :: [])))))))))))))))))))))))))))))))))))))))))))))))))))))))))))))))))))))))))))))))
+
+(** val assoc_str : str -> (str * 'a1) list -> 'a1 option **)
+
+let rec assoc_str k = function
+| [] -> None
+| p :: r -> let (k', v) = p in if str_eqb k k' then Some v else assoc_str k r
+
+(** val has_prefix : str -> str -> bool **)
+
+let has_prefix p s =
+  str_eqb p (firstn (length p) s)
+
+(** val s_f : str **)
+
+let s_f =
+  (Zpos (XO (XI (XI (XO (XO (XI XH))))))) :: []
+
+(** val s_alt : str **)
+
+let s_alt =
+  (Zpos (XI (XO (XO (XO (XO (XI XH))))))) :: ((Zpos (XO (XO (XI (XI (XO (XI
+    XH))))))) :: ((Zpos (XO (XO (XI (XO (XI (XI XH))))))) :: ((Zpos (XI (XO
+    (XI (XI (XO XH)))))) :: [])))
+
+(** val s_ctrl : str **)
+
+let s_ctrl =
+  (Zpos (XI (XI (XO (XO (XO (XI XH))))))) :: ((Zpos (XO (XO (XI (XO (XI (XI
+    XH))))))) :: ((Zpos (XO (XI (XO (XO (XI (XI XH))))))) :: ((Zpos (XO (XO
+    (XI (XI (XO (XI XH))))))) :: ((Zpos (XI (XO (XI (XI (XO XH)))))) :: []))))
+
+(** val s_ctrl_alt : str **)
+
+let s_ctrl_alt =
+  (Zpos (XI (XI (XO (XO (XO (XI XH))))))) :: ((Zpos (XO (XO (XI (XO (XI (XI
+    XH))))))) :: ((Zpos (XO (XI (XO (XO (XI (XI XH))))))) :: ((Zpos (XO (XO
+    (XI (XI (XO (XI XH))))))) :: ((Zpos (XI (XO (XI (XI (XO
+    XH)))))) :: ((Zpos (XI (XO (XO (XO (XO (XI XH))))))) :: ((Zpos (XO (XO
+    (XI (XI (XO (XI XH))))))) :: ((Zpos (XO (XO (XI (XO (XI (XI
+    XH))))))) :: ((Zpos (XI (XO (XI (XI (XO XH)))))) :: []))))))))
+
+(** val key_of_token : str -> key option **)
+
+let key_of_token tok =
+  let l = to_lower tok in
+  (match assoc_str l named_keys with
+   | Some k -> Some k
+   | None ->
+     (match tok with
+      | [] -> None
+      | c :: l0 ->
+        (match l0 with
+         | [] ->
+           if Z.ltb c (Zpos (XO (XO (XO (XO (XO (XO (XO XH))))))))
+           then Some (KRune c)
+           else None
+         | d :: l1 ->
+           (match l1 with
+            | [] ->
+              if (&&)
+                   ((&&) (has_prefix s_f l)
+                     (Z.leb (Zpos (XI (XO (XO (XO (XI XH)))))) d))
+                   (Z.leb d (Zpos (XI (XO (XO (XI (XI XH)))))))
+              then Some (KF (Z.sub d (Zpos (XO (XO (XO (XO (XI XH))))))))
+              else None
+            | _ :: l2 ->
+              (match l2 with
+               | [] -> None
+               | _ :: l3 ->
+                 (match l3 with
+                  | [] -> None
+                  | r :: l4 ->
+                    (match l4 with
+                     | [] ->
+                       if (&&) (has_prefix s_alt l)
+                            (Z.ltb r (Zpos (XO (XO (XO (XO (XO (XO (XO
+                              XH)))))))))
+                       then Some (KAlt r)
+                       else None
+                     | c0 :: l5 ->
+                       (match l5 with
+                        | [] ->
+                          if (&&) (has_prefix s_ctrl l) (is_lower (lower c0))
+                          then Some (KCtrl
+                                 (Z.sub (lower c0) (Zpos (XI (XO (XO (XO (XO
+                                   (XI XH)))))))))
+                          else None
+                        | _ :: l6 ->
+                          (match l6 with
+                           | [] -> None
+                           | _ :: l7 ->
+                             (match l7 with
+                              | [] -> None
+                              | _ :: l8 ->
+                                (match l8 with
+                                 | [] -> None
+                                 | c1 :: l9 ->
+                                   (match l9 with
+                                    | [] ->
+                                      if (&&) (has_prefix s_ctrl_alt l)
+                                           (is_lower (lower c1))
+                                      then Some (KCtrlAlt c1)
+                                      else None
+                                    | _ :: _ -> None))))))))))))
+
+type action = str * str
+
+(** val simple_actions : (str * str list) list **)
+
+let simple_actions =
+  (((Zpos (XI (XO (XO (XI (XO (XI XH))))))) :: ((Zpos (XI (XI (XI (XO (XO (XI
+    XH))))))) :: ((Zpos (XO (XI (XI (XI (XO (XI XH))))))) :: ((Zpos (XI (XI
+    (XI (XI (XO (XI XH))))))) :: ((Zpos (XO (XI (XO (XO (XI (XI
+    XH))))))) :: ((Zpos (XI (XO (XI (XO (XO (XI XH))))))) :: [])))))),
+    (((Zpos (XI (XO (XO (XI (XO (XI XH))))))) :: ((Zpos (XI (XI (XI (XO (XO
+    (XI XH))))))) :: ((Zpos (XO (XI (XI (XI (XO (XI XH))))))) :: ((Zpos (XI
+    (XI (XI (XI (XO (XI XH))))))) :: ((Zpos (XO (XI (XO (XO (XI (XI
+    XH))))))) :: ((Zpos (XI (XO (XI (XO (XO (XI
+    XH))))))) :: [])))))) :: [])) :: ((((Zpos (XO (XI (XO (XO (XO (XI
+    XH))))))) :: ((Zpos (XI (XO (XI (XO (XO (XI XH))))))) :: ((Zpos (XI (XI
+    (XI (XO (XO (XI XH))))))) :: ((Zpos (XI (XO (XO (XI (XO (XI
+    XH))))))) :: ((Zpos (XO (XI (XI (XI (XO (XI XH))))))) :: ((Zpos (XO (XI
+    (XI (XI (XO (XI XH))))))) :: ((Zpos (XI (XO (XO (XI (XO (XI
+    XH))))))) :: ((Zpos (XO (XI (XI (XI (XO (XI XH))))))) :: ((Zpos (XI (XI
+    (XI (XO (XO (XI XH))))))) :: ((Zpos (XI (XO (XI (XI (XO
+    XH)))))) :: ((Zpos (XI (XI (XI (XI (XO (XI XH))))))) :: ((Zpos (XO (XI
+    (XI (XO (XO (XI XH))))))) :: ((Zpos (XI (XO (XI (XI (XO
+    XH)))))) :: ((Zpos (XO (XO (XI (XI (XO (XI XH))))))) :: ((Zpos (XI (XO
+    (XO (XI (XO (XI XH))))))) :: ((Zpos (XO (XI (XI (XI (XO (XI
+    XH))))))) :: ((Zpos (XI (XO (XI (XO (XO (XI
+    XH))))))) :: []))))))))))))))))), (((Zpos (XO (XI (XO (XO (XO (XI
+    XH))))))) :: ((Zpos (XI (XO (XI (XO (XO (XI XH))))))) :: ((Zpos (XI (XI
+    (XI (XO (XO (XI XH))))))) :: ((Zpos (XI (XO (XO (XI (XO (XI
+    XH))))))) :: ((Zpos (XO (XI (XI (XI (XO (XI XH))))))) :: ((Zpos (XO (XI
+    (XI (XI (XO (XI XH))))))) :: ((Zpos (XI (XO (XO (XI (XO (XI
+    XH))))))) :: ((Zpos (XO (XI (XI (XI (XO (XI XH))))))) :: ((Zpos (XI (XI
+    (XI (XO (XO (XI XH))))))) :: ((Zpos (XI (XO (XI (XI (XO
+    XH)))))) :: ((Zpos (XI (XI (XI (XI (XO (XI XH))))))) :: ((Zpos (XO (XI
+    (XI (XO (XO (XI XH))))))) :: ((Zpos (XI (XO (XI (XI (XO
+    XH)))))) :: ((Zpos (XO (XO (XI (XI (XO (XI XH))))))) :: ((Zpos (XI (XO
+    (XO (XI (XO (XI XH))))))) :: ((Zpos (XO (XI (XI (XI (XO (XI
+    XH))))))) :: ((Zpos (XI (XO (XI (XO (XO (XI
+    XH))))))) :: []))))))))))))))))) :: [])) :: ((((Zpos (XI (XO (XO (XO (XO
+    (XI XH))))))) :: ((Zpos (XO (XI (XO (XO (XO (XI XH))))))) :: ((Zpos (XI
+    (XI (XI (XI (XO (XI XH))))))) :: ((Zpos (XO (XI (XO (XO (XI (XI
+    XH))))))) :: ((Zpos (XO (XO (XI (XO (XI (XI XH))))))) :: []))))), (((Zpos
+    (XI (XO (XO (XO (XO (XI XH))))))) :: ((Zpos (XO (XI (XO (XO (XO (XI
+    XH))))))) :: ((Zpos (XI (XI (XI (XI (XO (XI XH))))))) :: ((Zpos (XO (XI
+    (XO (XO (XI (XI XH))))))) :: ((Zpos (XO (XO (XI (XO (XI (XI
+    XH))))))) :: []))))) :: [])) :: ((((Zpos (XI (XO (XO (XO (XO (XI
+    XH))))))) :: ((Zpos (XI (XI (XO (XO (XO (XI XH))))))) :: ((Zpos (XI (XI
+    (XO (XO (XO (XI XH))))))) :: ((Zpos (XI (XO (XI (XO (XO (XI
+    XH))))))) :: ((Zpos (XO (XO (XO (XO (XI (XI XH))))))) :: ((Zpos (XO (XO
+    (XI (XO (XI (XI XH))))))) :: [])))))), (((Zpos (XI (XO (XO (XO (XO (XI
+    XH))))))) :: ((Zpos (XI (XI (XO (XO (XO (XI XH))))))) :: ((Zpos (XI (XI
+    (XO (XO (XO (XI XH))))))) :: ((Zpos (XI (XO (XI (XO (XO (XI
+    XH))))))) :: ((Zpos (XO (XO (XO (XO (XI (XI XH))))))) :: ((Zpos (XO (XO
+    (XI (XO (XI (XI XH))))))) :: [])))))) :: [])) :: ((((Zpos (XI (XO (XO (XO
+    (XO (XI XH))))))) :: ((Zpos (XI (XI (XO (XO (XO (XI XH))))))) :: ((Zpos
+    (XI (XI (XO (XO (XO (XI XH))))))) :: ((Zpos (XI (XO (XI (XO (XO (XI
+    XH))))))) :: ((Zpos (XO (XO (XO (XO (XI (XI XH))))))) :: ((Zpos (XO (XO
+    (XI (XO (XI (XI XH))))))) :: ((Zpos (XI (XO (XI (XI (XO
+    XH)))))) :: ((Zpos (XO (XI (XI (XI (XO (XI XH))))))) :: ((Zpos (XI (XI
+    (XI (XI (XO (XI XH))))))) :: ((Zpos (XO (XI (XI (XI (XO (XI
+    XH))))))) :: ((Zpos (XI (XO (XI (XI (XO XH)))))) :: ((Zpos (XI (XO (XI
+    (XO (XO (XI XH))))))) :: ((Zpos (XI (XO (XI (XI (XO (XI
+    XH))))))) :: ((Zpos (XO (XO (XO (XO (XI (XI XH))))))) :: ((Zpos (XO (XO
+    (XI (XO (XI (XI XH))))))) :: ((Zpos (XI (XO (XO (XI (XI (XI
+    XH))))))) :: [])))))))))))))))), (((Zpos (XI (XO (XO (XO (XO (XI
+    XH))))))) :: ((Zpos (XI (XI (XO (XO (XO (XI XH))))))) :: ((Zpos (XI (XI
+    (XO (XO (XO (XI XH))))))) :: ((Zpos (XI (XO (XI (XO (XO (XI
+    XH))))))) :: ((Zpos (XO (XO (XO (XO (XI (XI XH))))))) :: ((Zpos (XO (XO
+    (XI (XO (XI (XI XH))))))) :: ((Zpos (XI (XO (XI (XI (XO
+    XH)))))) :: ((Zpos (XO (XI (XI (XI (XO (XI XH))))))) :: ((Zpos (XI (XI
+    (XI (XI (XO (XI XH))))))) :: ((Zpos (XO (XI (XI (XI (XO (XI
+    XH))))))) :: ((Zpos (XI (XO (XI (XI (XO XH)))))) :: ((Zpos (XI (XO (XI
+    (XO (XO (XI XH))))))) :: ((Zpos (XI (XO (XI (XI (XO (XI
+    XH))))))) :: ((Zpos (XO (XO (XO (XO (XI (XI XH))))))) :: ((Zpos (XO (XO
+    (XI (XO (XI (XI XH))))))) :: ((Zpos (XI (XO (XO (XI (XI (XI
+    XH))))))) :: [])))))))))))))))) :: [])) :: ((((Zpos (XI (XO (XO (XO (XO
+    (XI XH))))))) :: ((Zpos (XI (XI (XO (XO (XO (XI XH))))))) :: ((Zpos (XI
+    (XI (XO (XO (XO (XI XH))))))) :: ((Zpos (XI (XO (XI (XO (XO (XI
+    XH))))))) :: ((Zpos (XO (XO (XO (XO (XI (XI XH))))))) :: ((Zpos (XO (XO
+    (XI (XO (XI (XI XH))))))) :: ((Zpos (XI (XO (XI (XI (XO
+    XH)))))) :: ((Zpos (XI (XI (XI (XI (XO (XI XH))))))) :: ((Zpos (XO (XI
+    (XO (XO (XI (XI XH))))))) :: ((Zpos (XI (XO (XI (XI (XO
+    XH)))))) :: ((Zpos (XO (XO (XO (XO (XI (XI XH))))))) :: ((Zpos (XO (XI
+    (XO (XO (XI (XI XH))))))) :: ((Zpos (XI (XO (XO (XI (XO (XI
+    XH))))))) :: ((Zpos (XO (XI (XI (XI (XO (XI XH))))))) :: ((Zpos (XO (XO
+    (XI (XO (XI (XI XH))))))) :: ((Zpos (XI (XO (XI (XI (XO
+    XH)))))) :: ((Zpos (XI (XO (XO (XO (XI (XI XH))))))) :: ((Zpos (XI (XO
+    (XI (XO (XI (XI XH))))))) :: ((Zpos (XI (XO (XI (XO (XO (XI
+    XH))))))) :: ((Zpos (XO (XI (XO (XO (XI (XI XH))))))) :: ((Zpos (XI (XO
+    (XO (XI (XI (XI XH))))))) :: []))))))))))))))))))))), (((Zpos (XI (XO (XO
+    (XO (XO (XI XH))))))) :: ((Zpos (XI (XI (XO (XO (XO (XI
+    XH))))))) :: ((Zpos (XI (XI (XO (XO (XO (XI XH))))))) :: ((Zpos (XI (XO
+    (XI (XO (XO (XI XH))))))) :: ((Zpos (XO (XO (XO (XO (XI (XI
+    XH))))))) :: ((Zpos (XO (XO (XI (XO (XI (XI XH))))))) :: ((Zpos (XI (XO
+    (XI (XI (XO XH)))))) :: ((Zpos (XI (XI (XI (XI (XO (XI
+    XH))))))) :: ((Zpos (XO (XI (XO (XO (XI (XI XH))))))) :: ((Zpos (XI (XO
+    (XI (XI (XO XH)))))) :: ((Zpos (XO (XO (XO (XO (XI (XI
+    XH))))))) :: ((Zpos (XO (XI (XO (XO (XI (XI XH))))))) :: ((Zpos (XI (XO
+    (XO (XI (XO (XI XH))))))) :: ((Zpos (XO (XI (XI (XI (XO (XI
+    XH))))))) :: ((Zpos (XO (XO (XI (XO (XI (XI XH))))))) :: ((Zpos (XI (XO
+    (XI (XI (XO XH)))))) :: ((Zpos (XI (XO (XO (XO (XI (XI
+    XH))))))) :: ((Zpos (XI (XO (XI (XO (XI (XI XH))))))) :: ((Zpos (XI (XO
+    (XI (XO (XO (XI XH))))))) :: ((Zpos (XO (XI (XO (XO (XI (XI
+    XH))))))) :: ((Zpos (XI (XO (XO (XI (XI (XI
+    XH))))))) :: []))))))))))))))))))))) :: [])) :: ((((Zpos (XO (XO (XO (XO
+    (XI (XI XH))))))) :: ((Zpos (XO (XI (XO (XO (XI (XI XH))))))) :: ((Zpos
+    (XI (XO (XO (XI (XO (XI XH))))))) :: ((Zpos (XO (XI (XI (XI (XO (XI
+    XH))))))) :: ((Zpos (XO (XO (XI (XO (XI (XI XH))))))) :: ((Zpos (XI (XO
+    (XI (XI (XO XH)))))) :: ((Zpos (XI (XO (XO (XO (XI (XI
+    XH))))))) :: ((Zpos (XI (XO (XI (XO (XI (XI XH))))))) :: ((Zpos (XI (XO
+    (XI (XO (XO (XI XH))))))) :: ((Zpos (XO (XI (XO (XO (XI (XI
+    XH))))))) :: ((Zpos (XI (XO (XO (XI (XI (XI XH))))))) :: []))))))))))),
+    (((Zpos (XO (XO (XO (XO (XI (XI XH))))))) :: ((Zpos (XO (XI (XO (XO (XI
+    (XI XH))))))) :: ((Zpos (XI (XO (XO (XI (XO (XI XH))))))) :: ((Zpos (XO
+    (XI (XI (XI (XO (XI XH))))))) :: ((Zpos (XO (XO (XI (XO (XI (XI
+    XH))))))) :: ((Zpos (XI (XO (XI (XI (XO XH)))))) :: ((Zpos (XI (XO (XO
+    (XO (XI (XI XH))))))) :: ((Zpos (XI (XO (XI (XO (XI (XI
+    XH))))))) :: ((Zpos (XI (XO (XI (XO (XO (XI XH))))))) :: ((Zpos (XO (XI
+    (XO (XO (XI (XI XH))))))) :: ((Zpos (XI (XO (XO (XI (XI (XI
+    XH))))))) :: []))))))))))) :: [])) :: ((((Zpos (XO (XI (XO (XO (XI (XI
+    XH))))))) :: ((Zpos (XI (XO (XI (XO (XO (XI XH))))))) :: ((Zpos (XO (XI
+    (XI (XO (XO (XI XH))))))) :: ((Zpos (XO (XI (XO (XO (XI (XI
+    XH))))))) :: ((Zpos (XI (XO (XI (XO (XO (XI XH))))))) :: ((Zpos (XI (XI
+    (XO (XO (XI (XI XH))))))) :: ((Zpos (XO (XO (XO (XI (XO (XI
+    XH))))))) :: ((Zpos (XI (XO (XI (XI (XO XH)))))) :: ((Zpos (XO (XO (XO
+    (XO (XI (XI XH))))))) :: ((Zpos (XO (XI (XO (XO (XI (XI
+    XH))))))) :: ((Zpos (XI (XO (XI (XO (XO (XI XH))))))) :: ((Zpos (XO (XI
+    (XI (XO (XI (XI XH))))))) :: ((Zpos (XI (XO (XO (XI (XO (XI
+    XH))))))) :: ((Zpos (XI (XO (XI (XO (XO (XI XH))))))) :: ((Zpos (XI (XI
+    (XI (XO (XI (XI XH))))))) :: []))))))))))))))), (((Zpos (XO (XI (XO (XO
+    (XI (XI XH))))))) :: ((Zpos (XI (XO (XI (XO (XO (XI XH))))))) :: ((Zpos
+    (XO (XI (XI (XO (XO (XI XH))))))) :: ((Zpos (XO (XI (XO (XO (XI (XI
+    XH))))))) :: ((Zpos (XI (XO (XI (XO (XO (XI XH))))))) :: ((Zpos (XI (XI
+    (XO (XO (XI (XI XH))))))) :: ((Zpos (XO (XO (XO (XI (XO (XI
+    XH))))))) :: ((Zpos (XI (XO (XI (XI (XO XH)))))) :: ((Zpos (XO (XO (XO
+    (XO (XI (XI XH))))))) :: ((Zpos (XO (XI (XO (XO (XI (XI
+    XH))))))) :: ((Zpos (XI (XO (XI (XO (XO (XI XH))))))) :: ((Zpos (XO (XI
+    (XI (XO (XI (XI XH))))))) :: ((Zpos (XI (XO (XO (XI (XO (XI
+    XH))))))) :: ((Zpos (XI (XO (XI (XO (XO (XI XH))))))) :: ((Zpos (XI (XI
+    (XI (XO (XI (XI XH))))))) :: []))))))))))))))) :: [])) :: ((((Zpos (XO
+    (XI (XO (XO (XI (XI XH))))))) :: ((Zpos (XI (XO (XI (XO (XO (XI
+    XH))))))) :: ((Zpos (XO (XO (XO (XO (XI (XI XH))))))) :: ((Zpos (XO (XO
+    (XI (XI (XO (XI XH))))))) :: ((Zpos (XI (XO (XO (XO (XO (XI
+    XH))))))) :: ((Zpos (XI (XI (XO (XO (XO (XI XH))))))) :: ((Zpos (XI (XO
+    (XI (XO (XO (XI XH))))))) :: ((Zpos (XI (XO (XI (XI (XO
+    XH)))))) :: ((Zpos (XI (XO (XO (XO (XI (XI XH))))))) :: ((Zpos (XI (XO
+    (XI (XO (XI (XI XH))))))) :: ((Zpos (XI (XO (XI (XO (XO (XI
+    XH))))))) :: ((Zpos (XO (XI (XO (XO (XI (XI XH))))))) :: ((Zpos (XI (XO
+    (XO (XI (XI (XI XH))))))) :: []))))))))))))), (((Zpos (XO (XI (XO (XO (XI
+    (XI XH))))))) :: ((Zpos (XI (XO (XI (XO (XO (XI XH))))))) :: ((Zpos (XO
+    (XO (XO (XO (XI (XI XH))))))) :: ((Zpos (XO (XO (XI (XI (XO (XI
+    XH))))))) :: ((Zpos (XI (XO (XO (XO (XO (XI XH))))))) :: ((Zpos (XI (XI
+    (XO (XO (XO (XI XH))))))) :: ((Zpos (XI (XO (XI (XO (XO (XI
+    XH))))))) :: ((Zpos (XI (XO (XI (XI (XO XH)))))) :: ((Zpos (XI (XO (XO
+    (XO (XI (XI XH))))))) :: ((Zpos (XI (XO (XI (XO (XI (XI
+    XH))))))) :: ((Zpos (XI (XO (XI (XO (XO (XI XH))))))) :: ((Zpos (XO (XI
+    (XO (XO (XI (XI XH))))))) :: ((Zpos (XI (XO (XO (XI (XI (XI
+    XH))))))) :: []))))))))))))) :: [])) :: ((((Zpos (XO (XI (XO (XO (XO (XI
+    XH))))))) :: ((Zpos (XI (XO (XO (XO (XO (XI XH))))))) :: ((Zpos (XI (XI
+    (XO (XO (XO (XI XH))))))) :: ((Zpos (XI (XI (XO (XI (XO (XI
+    XH))))))) :: ((Zpos (XI (XI (XI (XO (XI (XI XH))))))) :: ((Zpos (XI (XO
+    (XO (XO (XO (XI XH))))))) :: ((Zpos (XO (XI (XO (XO (XI (XI
+    XH))))))) :: ((Zpos (XO (XO (XI (XO (XO (XI XH))))))) :: ((Zpos (XI (XO
+    (XI (XI (XO XH)))))) :: ((Zpos (XI (XI (XO (XO (XO (XI
+    XH))))))) :: ((Zpos (XO (XO (XO (XI (XO (XI XH))))))) :: ((Zpos (XI (XO
+    (XO (XO (XO (XI XH))))))) :: ((Zpos (XO (XI (XO (XO (XI (XI
+    XH))))))) :: []))))))))))))), (((Zpos (XO (XI (XO (XO (XO (XI
+    XH))))))) :: ((Zpos (XI (XO (XO (XO (XO (XI XH))))))) :: ((Zpos (XI (XI
+    (XO (XO (XO (XI XH))))))) :: ((Zpos (XI (XI (XO (XI (XO (XI
+    XH))))))) :: ((Zpos (XI (XI (XI (XO (XI (XI XH))))))) :: ((Zpos (XI (XO
+    (XO (XO (XO (XI XH))))))) :: ((Zpos (XO (XI (XO (XO (XI (XI
+    XH))))))) :: ((Zpos (XO (XO (XI (XO (XO (XI XH))))))) :: ((Zpos (XI (XO
+    (XI (XI (XO XH)))))) :: ((Zpos (XI (XI (XO (XO (XO (XI
+    XH))))))) :: ((Zpos (XO (XO (XO (XI (XO (XI XH))))))) :: ((Zpos (XI (XO
+    (XO (XO (XO (XI XH))))))) :: ((Zpos (XO (XI (XO (XO (XI (XI
+    XH))))))) :: []))))))))))))) :: [])) :: ((((Zpos (XO (XI (XO (XO (XO (XI
+    XH))))))) :: ((Zpos (XI (XO (XO (XO (XO (XI XH))))))) :: ((Zpos (XI (XI
+    (XO (XO (XO (XI XH))))))) :: ((Zpos (XI (XI (XO (XI (XO (XI
+    XH))))))) :: ((Zpos (XI (XI (XI (XO (XI (XI XH))))))) :: ((Zpos (XI (XO
+    (XO (XO (XO (XI XH))))))) :: ((Zpos (XO (XI (XO (XO (XI (XI
+    XH))))))) :: ((Zpos (XO (XO (XI (XO (XO (XI XH))))))) :: ((Zpos (XI (XO
+    (XI (XI (XO XH)))))) :: ((Zpos (XO (XO (XI (XO (XO (XI
+    XH))))))) :: ((Zpos (XI (XO (XI (XO (XO (XI XH))))))) :: ((Zpos (XO (XO
+    (XI (XI (XO (XI XH))))))) :: ((Zpos (XI (XO (XI (XO (XO (XI
+    XH))))))) :: ((Zpos (XO (XO (XI (XO (XI (XI XH))))))) :: ((Zpos (XI (XO
+    (XI (XO (XO (XI XH))))))) :: ((Zpos (XI (XO (XI (XI (XO
+    XH)))))) :: ((Zpos (XI (XI (XO (XO (XO (XI XH))))))) :: ((Zpos (XO (XO
+    (XO (XI (XO (XI XH))))))) :: ((Zpos (XI (XO (XO (XO (XO (XI
+    XH))))))) :: ((Zpos (XO (XI (XO (XO (XI (XI
+    XH))))))) :: [])))))))))))))))))))), (((Zpos (XO (XI (XO (XO (XO (XI
+    XH))))))) :: ((Zpos (XI (XO (XO (XO (XO (XI XH))))))) :: ((Zpos (XI (XI
+    (XO (XO (XO (XI XH))))))) :: ((Zpos (XI (XI (XO (XI (XO (XI
+    XH))))))) :: ((Zpos (XI (XI (XI (XO (XI (XI XH))))))) :: ((Zpos (XI (XO
+    (XO (XO (XO (XI XH))))))) :: ((Zpos (XO (XI (XO (XO (XI (XI
+    XH))))))) :: ((Zpos (XO (XO (XI (XO (XO (XI XH))))))) :: ((Zpos (XI (XO
+    (XI (XI (XO XH)))))) :: ((Zpos (XO (XO (XI (XO (XO (XI
+    XH))))))) :: ((Zpos (XI (XO (XI (XO (XO (XI XH))))))) :: ((Zpos (XO (XO
+    (XI (XI (XO (XI XH))))))) :: ((Zpos (XI (XO (XI (XO (XO (XI
+    XH))))))) :: ((Zpos (XO (XO (XI (XO (XI (XI XH))))))) :: ((Zpos (XI (XO
+    (XI (XO (XO (XI XH))))))) :: ((Zpos (XI (XO (XI (XI (XO
+    XH)))))) :: ((Zpos (XI (XI (XO (XO (XO (XI XH))))))) :: ((Zpos (XO (XO
+    (XO (XI (XO (XI XH))))))) :: ((Zpos (XI (XO (XO (XO (XO (XI
+    XH))))))) :: ((Zpos (XO (XI (XO (XO (XI (XI
+    XH))))))) :: [])))))))))))))))))))) :: [])) :: ((((Zpos (XO (XI (XO (XO
+    (XO (XI XH))))))) :: ((Zpos (XI (XO (XO (XO (XO (XI XH))))))) :: ((Zpos
+    (XI (XI (XO (XO (XO (XI XH))))))) :: ((Zpos (XI (XI (XO (XI (XO (XI
+    XH))))))) :: ((Zpos (XI (XI (XI (XO (XI (XI XH))))))) :: ((Zpos (XI (XO
+    (XO (XO (XO (XI XH))))))) :: ((Zpos (XO (XI (XO (XO (XI (XI
+    XH))))))) :: ((Zpos (XO (XO (XI (XO (XO (XI XH))))))) :: ((Zpos (XI (XO
+    (XI (XI (XO XH)))))) :: ((Zpos (XO (XO (XI (XO (XO (XI
+    XH))))))) :: ((Zpos (XI (XO (XI (XO (XO (XI XH))))))) :: ((Zpos (XO (XO
+    (XI (XI (XO (XI XH))))))) :: ((Zpos (XI (XO (XI (XO (XO (XI
+    XH))))))) :: ((Zpos (XO (XO (XI (XO (XI (XI XH))))))) :: ((Zpos (XI (XO
+    (XI (XO (XO (XI XH))))))) :: ((Zpos (XI (XO (XI (XI (XO
+    XH)))))) :: ((Zpos (XI (XI (XO (XO (XO (XI XH))))))) :: ((Zpos (XO (XO
+    (XO (XI (XO (XI XH))))))) :: ((Zpos (XI (XO (XO (XO (XO (XI
+    XH))))))) :: ((Zpos (XO (XI (XO (XO (XI (XI XH))))))) :: ((Zpos (XI (XI
+    (XI (XI (XO XH)))))) :: ((Zpos (XI (XO (XI (XO (XO (XI
+    XH))))))) :: ((Zpos (XI (XI (XI (XI (XO (XI XH))))))) :: ((Zpos (XO (XI
+    (XI (XO (XO (XI XH))))))) :: [])))))))))))))))))))))))), (((Zpos (XO (XI
+    (XO (XO (XO (XI XH))))))) :: ((Zpos (XI (XO (XO (XO (XO (XI
+    XH))))))) :: ((Zpos (XI (XI (XO (XO (XO (XI XH))))))) :: ((Zpos (XI (XI
+    (XO (XI (XO (XI XH))))))) :: ((Zpos (XI (XI (XI (XO (XI (XI
+    XH))))))) :: ((Zpos (XI (XO (XO (XO (XO (XI XH))))))) :: ((Zpos (XO (XI
+    (XO (XO (XI (XI XH))))))) :: ((Zpos (XO (XO (XI (XO (XO (XI
+    XH))))))) :: ((Zpos (XI (XO (XI (XI (XO XH)))))) :: ((Zpos (XO (XO (XI
+    (XO (XO (XI XH))))))) :: ((Zpos (XI (XO (XI (XO (XO (XI
+    XH))))))) :: ((Zpos (XO (XO (XI (XI (XO (XI XH))))))) :: ((Zpos (XI (XO
+    (XI (XO (XO (XI XH))))))) :: ((Zpos (XO (XO (XI (XO (XI (XI
+    XH))))))) :: ((Zpos (XI (XO (XI (XO (XO (XI XH))))))) :: ((Zpos (XI (XO
+    (XI (XI (XO XH)))))) :: ((Zpos (XI (XI (XO (XO (XO (XI
+    XH))))))) :: ((Zpos (XO (XO (XO (XI (XO (XI XH))))))) :: ((Zpos (XI (XO
+    (XO (XO (XO (XI XH))))))) :: ((Zpos (XO (XI (XO (XO (XI (XI
+    XH))))))) :: ((Zpos (XI (XO (XI (XI (XO XH)))))) :: ((Zpos (XI (XO (XI
+    (XO (XO (XI XH))))))) :: ((Zpos (XI (XI (XI (XI (XO (XI
+    XH))))))) :: ((Zpos (XO (XI (XI (XO (XO (XI
+    XH))))))) :: [])))))))))))))))))))))))) :: [])) :: ((((Zpos (XO (XI (XO
+    (XO (XO (XI XH))))))) :: ((Zpos (XI (XO (XO (XO (XO (XI
+    XH))))))) :: ((Zpos (XI (XI (XO (XO (XO (XI XH))))))) :: ((Zpos (XI (XI
+    (XO (XI (XO (XI XH))))))) :: ((Zpos (XI (XI (XI (XO (XI (XI
+    XH))))))) :: ((Zpos (XI (XO (XO (XO (XO (XI XH))))))) :: ((Zpos (XO (XI
+    (XO (XO (XI (XI XH))))))) :: ((Zpos (XO (XO (XI (XO (XO (XI
+    XH))))))) :: ((Zpos (XI (XO (XI (XI (XO XH)))))) :: ((Zpos (XI (XI (XI
+    (XO (XI (XI XH))))))) :: ((Zpos (XI (XI (XI (XI (XO (XI
+    XH))))))) :: ((Zpos (XO (XI (XO (XO (XI (XI XH))))))) :: ((Zpos (XO (XO
+    (XI (XO (XO (XI XH))))))) :: []))))))))))))), (((Zpos (XO (XI (XO (XO (XO
+    (XI XH))))))) :: ((Zpos (XI (XO (XO (XO (XO (XI XH))))))) :: ((Zpos (XI
+    (XI (XO (XO (XO (XI XH))))))) :: ((Zpos (XI (XI (XO (XI (XO (XI
+    XH))))))) :: ((Zpos (XI (XI (XI (XO (XI (XI XH))))))) :: ((Zpos (XI (XO
+    (XO (XO (XO (XI XH))))))) :: ((Zpos (XO (XI (XO (XO (XI (XI
+    XH))))))) :: ((Zpos (XO (XO (XI (XO (XO (XI XH))))))) :: ((Zpos (XI (XO
+    (XI (XI (XO XH)))))) :: ((Zpos (XI (XI (XI (XO (XI (XI
+    XH))))))) :: ((Zpos (XI (XI (XI (XI (XO (XI XH))))))) :: ((Zpos (XO (XI
+    (XO (XO (XI (XI XH))))))) :: ((Zpos (XO (XO (XI (XO (XO (XI
+    XH))))))) :: []))))))))))))) :: [])) :: ((((Zpos (XI (XI (XO (XO (XO (XI
+    XH))))))) :: ((Zpos (XO (XO (XI (XI (XO (XI XH))))))) :: ((Zpos (XI (XO
+    (XI (XO (XO (XI XH))))))) :: ((Zpos (XI (XO (XO (XO (XO (XI
+    XH))))))) :: ((Zpos (XO (XI (XO (XO (XI (XI XH))))))) :: ((Zpos (XI (XO
+    (XI (XI (XO XH)))))) :: ((Zpos (XI (XI (XO (XO (XI (XI
+    XH))))))) :: ((Zpos (XI (XI (XO (XO (XO (XI XH))))))) :: ((Zpos (XO (XI
+    (XO (XO (XI (XI XH))))))) :: ((Zpos (XI (XO (XI (XO (XO (XI
+    XH))))))) :: ((Zpos (XI (XO (XI (XO (XO (XI XH))))))) :: ((Zpos (XO (XI
+    (XI (XI (XO (XI XH))))))) :: [])))))))))))), (((Zpos (XI (XI (XO (XO (XO
+    (XI XH))))))) :: ((Zpos (XO (XO (XI (XI (XO (XI XH))))))) :: ((Zpos (XI
+    (XO (XI (XO (XO (XI XH))))))) :: ((Zpos (XI (XO (XO (XO (XO (XI
+    XH))))))) :: ((Zpos (XO (XI (XO (XO (XI (XI XH))))))) :: ((Zpos (XI (XO
+    (XI (XI (XO XH)))))) :: ((Zpos (XI (XI (XO (XO (XI (XI
+    XH))))))) :: ((Zpos (XI (XI (XO (XO (XO (XI XH))))))) :: ((Zpos (XO (XI
+    (XO (XO (XI (XI XH))))))) :: ((Zpos (XI (XO (XI (XO (XO (XI
+    XH))))))) :: ((Zpos (XI (XO (XI (XO (XO (XI XH))))))) :: ((Zpos (XO (XI
+    (XI (XI (XO (XI XH))))))) :: [])))))))))))) :: [])) :: ((((Zpos (XO (XO
+    (XI (XO (XO (XI XH))))))) :: ((Zpos (XI (XO (XI (XO (XO (XI
+    XH))))))) :: ((Zpos (XO (XO (XI (XI (XO (XI XH))))))) :: ((Zpos (XI (XO
+    (XI (XO (XO (XI XH))))))) :: ((Zpos (XO (XO (XI (XO (XI (XI
+    XH))))))) :: ((Zpos (XI (XO (XI (XO (XO (XI XH))))))) :: ((Zpos (XI (XO
+    (XI (XI (XO XH)))))) :: ((Zpos (XI (XI (XO (XO (XO (XI
+    XH))))))) :: ((Zpos (XO (XO (XO (XI (XO (XI XH))))))) :: ((Zpos (XI (XO
+    (XO (XO (XO (XI XH))))))) :: ((Zpos (XO (XI (XO (XO (XI (XI
+    XH))))))) :: []))))))))))), (((Zpos (XO (XO (XI (XO (XO (XI
+    XH))))))) :: ((Zpos (XI (XO (XI (XO (XO (XI XH))))))) :: ((Zpos (XO (XO
+    (XI (XI (XO (XI XH))))))) :: ((Zpos (XI (XO (XI (XO (XO (XI
+    XH))))))) :: ((Zpos (XO (XO (XI (XO (XI (XI XH))))))) :: ((Zpos (XI (XO
+    (XI (XO (XO (XI XH))))))) :: ((Zpos (XI (XO (XI (XI (XO
+    XH)))))) :: ((Zpos (XI (XI (XO (XO (XO (XI XH))))))) :: ((Zpos (XO (XO
+    (XO (XI (XO (XI XH))))))) :: ((Zpos (XI (XO (XO (XO (XO (XI
+    XH))))))) :: ((Zpos (XO (XI (XO (XO (XI (XI
+    XH))))))) :: []))))))))))) :: [])) :: ((((Zpos (XO (XO (XI (XO (XO (XI
+    XH))))))) :: ((Zpos (XI (XO (XI (XO (XO (XI XH))))))) :: ((Zpos (XO (XO
+    (XI (XI (XO (XI XH))))))) :: ((Zpos (XI (XO (XI (XO (XO (XI
+    XH))))))) :: ((Zpos (XO (XO (XI (XO (XI (XI XH))))))) :: ((Zpos (XI (XO
+    (XI (XO (XO (XI XH))))))) :: ((Zpos (XI (XO (XI (XI (XO
+    XH)))))) :: ((Zpos (XI (XI (XO (XO (XO (XI XH))))))) :: ((Zpos (XO (XO
+    (XO (XI (XO (XI XH))))))) :: ((Zpos (XI (XO (XO (XO (XO (XI
+    XH))))))) :: ((Zpos (XO (XI (XO (XO (XI (XI XH))))))) :: ((Zpos (XI (XI
+    (XI (XI (XO XH)))))) :: ((Zpos (XI (XO (XI (XO (XO (XI
+    XH))))))) :: ((Zpos (XI (XI (XI (XI (XO (XI XH))))))) :: ((Zpos (XO (XI
+    (XI (XO (XO (XI XH))))))) :: []))))))))))))))), (((Zpos (XO (XO (XI (XO
+    (XO (XI XH))))))) :: ((Zpos (XI (XO (XI (XO (XO (XI XH))))))) :: ((Zpos
+    (XO (XO (XI (XI (XO (XI XH))))))) :: ((Zpos (XI (XO (XI (XO (XO (XI
+    XH))))))) :: ((Zpos (XO (XO (XI (XO (XI (XI XH))))))) :: ((Zpos (XI (XO
+    (XI (XO (XO (XI XH))))))) :: ((Zpos (XI (XO (XI (XI (XO
+    XH)))))) :: ((Zpos (XI (XI (XO (XO (XO (XI XH))))))) :: ((Zpos (XO (XO
+    (XO (XI (XO (XI XH))))))) :: ((Zpos (XI (XO (XO (XO (XO (XI
+    XH))))))) :: ((Zpos (XO (XI (XO (XO (XI (XI XH))))))) :: ((Zpos (XI (XO
+    (XI (XI (XO XH)))))) :: ((Zpos (XI (XO (XI (XO (XO (XI
+    XH))))))) :: ((Zpos (XI (XI (XI (XI (XO (XI XH))))))) :: ((Zpos (XO (XI
+    (XI (XO (XO (XI XH))))))) :: []))))))))))))))) :: [])) :: ((((Zpos (XO
+    (XO (XI (XO (XO (XI XH))))))) :: ((Zpos (XI (XO (XI (XO (XO (XI
+    XH))))))) :: ((Zpos (XI (XI (XO (XO (XI (XI XH))))))) :: ((Zpos (XI (XO
+    (XI (XO (XO (XI XH))))))) :: ((Zpos (XO (XO (XI (XI (XO (XI
+    XH))))))) :: ((Zpos (XI (XO (XI (XO (XO (XI XH))))))) :: ((Zpos (XI (XI
+    (XO (XO (XO (XI XH))))))) :: ((Zpos (XO (XO (XI (XO (XI (XI
+    XH))))))) :: [])))))))), (((Zpos (XO (XO (XI (XO (XO (XI
+    XH))))))) :: ((Zpos (XI (XO (XI (XO (XO (XI XH))))))) :: ((Zpos (XI (XI
+    (XO (XO (XI (XI XH))))))) :: ((Zpos (XI (XO (XI (XO (XO (XI
+    XH))))))) :: ((Zpos (XO (XO (XI (XI (XO (XI XH))))))) :: ((Zpos (XI (XO
+    (XI (XO (XO (XI XH))))))) :: ((Zpos (XI (XI (XO (XO (XO (XI
+    XH))))))) :: ((Zpos (XO (XO (XI (XO (XI (XI
+    XH))))))) :: [])))))))) :: [])) :: ((((Zpos (XI (XO (XI (XO (XO (XI
+    XH))))))) :: ((Zpos (XO (XI (XI (XI (XO (XI XH))))))) :: ((Zpos (XO (XO
+    (XI (XO (XO (XI XH))))))) :: ((Zpos (XI (XO (XI (XI (XO
+    XH)))))) :: ((Zpos (XI (XI (XI (XI (XO (XI XH))))))) :: ((Zpos (XO (XI
+    (XI (XO (XO (XI XH))))))) :: ((Zpos (XI (XO (XI (XI (XO
+    XH)))))) :: ((Zpos (XO (XO (XI (XI (XO (XI XH))))))) :: ((Zpos (XI (XO
+    (XO (XI (XO (XI XH))))))) :: ((Zpos (XO (XI (XI (XI (XO (XI
+    XH))))))) :: ((Zpos (XI (XO (XI (XO (XO (XI XH))))))) :: []))))))))))),
+    (((Zpos (XI (XO (XI (XO (XO (XI XH))))))) :: ((Zpos (XO (XI (XI (XI (XO
+    (XI XH))))))) :: ((Zpos (XO (XO (XI (XO (XO (XI XH))))))) :: ((Zpos (XI
+    (XO (XI (XI (XO XH)))))) :: ((Zpos (XI (XI (XI (XI (XO (XI
+    XH))))))) :: ((Zpos (XO (XI (XI (XO (XO (XI XH))))))) :: ((Zpos (XI (XO
+    (XI (XI (XO XH)))))) :: ((Zpos (XO (XO (XI (XI (XO (XI
+    XH))))))) :: ((Zpos (XI (XO (XO (XI (XO (XI XH))))))) :: ((Zpos (XO (XI
+    (XI (XI (XO (XI XH))))))) :: ((Zpos (XI (XO (XI (XO (XO (XI
+    XH))))))) :: []))))))))))) :: [])) :: ((((Zpos (XI (XI (XO (XO (XO (XI
+    XH))))))) :: ((Zpos (XI (XO (XO (XO (XO (XI XH))))))) :: ((Zpos (XO (XI
+    (XI (XI (XO (XI XH))))))) :: ((Zpos (XI (XI (XO (XO (XO (XI
+    XH))))))) :: ((Zpos (XI (XO (XI (XO (XO (XI XH))))))) :: ((Zpos (XO (XO
+    (XI (XI (XO (XI XH))))))) :: [])))))), (((Zpos (XI (XI (XO (XO (XO (XI
+    XH))))))) :: ((Zpos (XI (XO (XO (XO (XO (XI XH))))))) :: ((Zpos (XO (XI
+    (XI (XI (XO (XI XH))))))) :: ((Zpos (XI (XI (XO (XO (XO (XI
+    XH))))))) :: ((Zpos (XI (XO (XI (XO (XO (XI XH))))))) :: ((Zpos (XO (XO
+    (XI (XI (XO (XI XH))))))) :: [])))))) :: [])) :: ((((Zpos (XI (XI (XO (XO
+    (XO (XI XH))))))) :: ((Zpos (XO (XO (XI (XI (XO (XI XH))))))) :: ((Zpos
+    (XI (XO (XI (XO (XO (XI XH))))))) :: ((Zpos (XI (XO (XO (XO (XO (XI
+    XH))))))) :: ((Zpos (XO (XI (XO (XO (XI (XI XH))))))) :: ((Zpos (XI (XO
+    (XI (XI (XO XH)))))) :: ((Zpos (XI (XO (XO (XO (XI (XI
+    XH))))))) :: ((Zpos (XI (XO (XI (XO (XI (XI XH))))))) :: ((Zpos (XI (XO
+    (XI (XO (XO (XI XH))))))) :: ((Zpos (XO (XI (XO (XO (XI (XI
+    XH))))))) :: ((Zpos (XI (XO (XO (XI (XI (XI XH))))))) :: []))))))))))),
+    (((Zpos (XI (XI (XO (XO (XO (XI XH))))))) :: ((Zpos (XO (XO (XI (XI (XO
+    (XI XH))))))) :: ((Zpos (XI (XO (XI (XO (XO (XI XH))))))) :: ((Zpos (XI
+    (XO (XO (XO (XO (XI XH))))))) :: ((Zpos (XO (XI (XO (XO (XI (XI
+    XH))))))) :: ((Zpos (XI (XO (XI (XI (XO XH)))))) :: ((Zpos (XI (XO (XO
+    (XO (XI (XI XH))))))) :: ((Zpos (XI (XO (XI (XO (XI (XI
+    XH))))))) :: ((Zpos (XI (XO (XI (XO (XO (XI XH))))))) :: ((Zpos (XO (XI
+    (XO (XO (XI (XI XH))))))) :: ((Zpos (XI (XO (XO (XI (XI (XI
+    XH))))))) :: []))))))))))) :: [])) :: ((((Zpos (XI (XI (XO (XO (XO (XI
+    XH))))))) :: ((Zpos (XO (XO (XI (XI (XO (XI XH))))))) :: ((Zpos (XI (XO
+    (XI (XO (XO (XI XH))))))) :: ((Zpos (XI (XO (XO (XO (XO (XI
+    XH))))))) :: ((Zpos (XO (XI (XO (XO (XI (XI XH))))))) :: ((Zpos (XI (XO
+    (XI (XI (XO XH)))))) :: ((Zpos (XI (XI (XO (XO (XI (XI
+    XH))))))) :: ((Zpos (XI (XO (XI (XO (XO (XI XH))))))) :: ((Zpos (XO (XO
+    (XI (XI (XO (XI XH))))))) :: ((Zpos (XI (XO (XI (XO (XO (XI
+    XH))))))) :: ((Zpos (XI (XI (XO (XO (XO (XI XH))))))) :: ((Zpos (XO (XO
+    (XI (XO (XI (XI XH))))))) :: ((Zpos (XI (XO (XO (XI (XO (XI
+    XH))))))) :: ((Zpos (XI (XI (XI (XI (XO (XI XH))))))) :: ((Zpos (XO (XI
+    (XI (XI (XO (XI XH))))))) :: []))))))))))))))), (((Zpos (XI (XI (XO (XO
+    (XO (XI XH))))))) :: ((Zpos (XO (XO (XI (XI (XO (XI XH))))))) :: ((Zpos
+    (XI (XO (XI (XO (XO (XI XH))))))) :: ((Zpos (XI (XO (XO (XO (XO (XI
+    XH))))))) :: ((Zpos (XO (XI (XO (XO (XI (XI XH))))))) :: ((Zpos (XI (XO
+    (XI (XI (XO XH)))))) :: ((Zpos (XI (XI (XO (XO (XI (XI
+    XH))))))) :: ((Zpos (XI (XO (XI (XO (XO (XI XH))))))) :: ((Zpos (XO (XO
+    (XI (XI (XO (XI XH))))))) :: ((Zpos (XI (XO (XI (XO (XO (XI
+    XH))))))) :: ((Zpos (XI (XI (XO (XO (XO (XI XH))))))) :: ((Zpos (XO (XO
+    (XI (XO (XI (XI XH))))))) :: ((Zpos (XI (XO (XO (XI (XO (XI
+    XH))))))) :: ((Zpos (XI (XI (XI (XI (XO (XI XH))))))) :: ((Zpos (XO (XI
+    (XI (XI (XO (XI XH))))))) :: []))))))))))))))) :: [])) :: ((((Zpos (XO
+    (XI (XI (XO (XO (XI XH))))))) :: ((Zpos (XI (XI (XI (XI (XO (XI
+    XH))))))) :: ((Zpos (XO (XI (XO (XO (XI (XI XH))))))) :: ((Zpos (XI (XI
+    (XI (XO (XI (XI XH))))))) :: ((Zpos (XI (XO (XO (XO (XO (XI
+    XH))))))) :: ((Zpos (XO (XI (XO (XO (XI (XI XH))))))) :: ((Zpos (XO (XO
+    (XI (XO (XO (XI XH))))))) :: ((Zpos (XI (XO (XI (XI (XO
+    XH)))))) :: ((Zpos (XI (XI (XO (XO (XO (XI XH))))))) :: ((Zpos (XO (XO
+    (XO (XI (XO (XI XH))))))) :: ((Zpos (XI (XO (XO (XO (XO (XI
+    XH))))))) :: ((Zpos (XO (XI (XO (XO (XI (XI XH))))))) :: [])))))))))))),
+    (((Zpos (XO (XI (XI (XO (XO (XI XH))))))) :: ((Zpos (XI (XI (XI (XI (XO
+    (XI XH))))))) :: ((Zpos (XO (XI (XO (XO (XI (XI XH))))))) :: ((Zpos (XI
+    (XI (XI (XO (XI (XI XH))))))) :: ((Zpos (XI (XO (XO (XO (XO (XI
+    XH))))))) :: ((Zpos (XO (XI (XO (XO (XI (XI XH))))))) :: ((Zpos (XO (XO
+    (XI (XO (XO (XI XH))))))) :: ((Zpos (XI (XO (XI (XI (XO
+    XH)))))) :: ((Zpos (XI (XI (XO (XO (XO (XI XH))))))) :: ((Zpos (XO (XO
+    (XO (XI (XO (XI XH))))))) :: ((Zpos (XI (XO (XO (XO (XO (XI
+    XH))))))) :: ((Zpos (XO (XI (XO (XO (XI (XI
+    XH))))))) :: [])))))))))))) :: [])) :: ((((Zpos (XO (XI (XI (XO (XO (XI
+    XH))))))) :: ((Zpos (XI (XI (XI (XI (XO (XI XH))))))) :: ((Zpos (XO (XI
+    (XO (XO (XI (XI XH))))))) :: ((Zpos (XI (XI (XI (XO (XI (XI
+    XH))))))) :: ((Zpos (XI (XO (XO (XO (XO (XI XH))))))) :: ((Zpos (XO (XI
+    (XO (XO (XI (XI XH))))))) :: ((Zpos (XO (XO (XI (XO (XO (XI
+    XH))))))) :: ((Zpos (XI (XO (XI (XI (XO XH)))))) :: ((Zpos (XI (XI (XI
+    (XO (XI (XI XH))))))) :: ((Zpos (XI (XI (XI (XI (XO (XI
+    XH))))))) :: ((Zpos (XO (XI (XO (XO (XI (XI XH))))))) :: ((Zpos (XO (XO
+    (XI (XO (XO (XI XH))))))) :: [])))))))))))), (((Zpos (XO (XI (XI (XO (XO
+    (XI XH))))))) :: ((Zpos (XI (XI (XI (XI (XO (XI XH))))))) :: ((Zpos (XO
+    (XI (XO (XO (XI (XI XH))))))) :: ((Zpos (XI (XI (XI (XO (XI (XI
+    XH))))))) :: ((Zpos (XI (XO (XO (XO (XO (XI XH))))))) :: ((Zpos (XO (XI
+    (XO (XO (XI (XI XH))))))) :: ((Zpos (XO (XO (XI (XO (XO (XI
+    XH))))))) :: ((Zpos (XI (XO (XI (XI (XO XH)))))) :: ((Zpos (XI (XI (XI
+    (XO (XI (XI XH))))))) :: ((Zpos (XI (XI (XI (XI (XO (XI
+    XH))))))) :: ((Zpos (XO (XI (XO (XO (XI (XI XH))))))) :: ((Zpos (XO (XO
+    (XI (XO (XO (XI XH))))))) :: [])))))))))))) :: [])) :: ((((Zpos (XO (XI
+    (XO (XI (XO (XI XH))))))) :: ((Zpos (XI (XO (XI (XO (XI (XI
+    XH))))))) :: ((Zpos (XI (XO (XI (XI (XO (XI XH))))))) :: ((Zpos (XO (XO
+    (XO (XO (XI (XI XH))))))) :: [])))), (((Zpos (XO (XI (XO (XI (XO (XI
+    XH))))))) :: ((Zpos (XI (XO (XI (XO (XI (XI XH))))))) :: ((Zpos (XI (XO
+    (XI (XI (XO (XI XH))))))) :: ((Zpos (XO (XO (XO (XO (XI (XI
+    XH))))))) :: [])))) :: [])) :: ((((Zpos (XO (XI (XO (XI (XO (XI
+    XH))))))) :: ((Zpos (XI (XO (XI (XO (XI (XI XH))))))) :: ((Zpos (XI (XO
+    (XI (XI (XO (XI XH))))))) :: ((Zpos (XO (XO (XO (XO (XI (XI
+    XH))))))) :: ((Zpos (XI (XO (XI (XI (XO XH)))))) :: ((Zpos (XI (XO (XO
+    (XO (XO (XI XH))))))) :: ((Zpos (XI (XI (XO (XO (XO (XI
+    XH))))))) :: ((Zpos (XI (XI (XO (XO (XO (XI XH))))))) :: ((Zpos (XI (XO
+    (XI (XO (XO (XI XH))))))) :: ((Zpos (XO (XO (XO (XO (XI (XI
+    XH))))))) :: ((Zpos (XO (XO (XI (XO (XI (XI XH))))))) :: []))))))))))),
+    (((Zpos (XO (XI (XO (XI (XO (XI XH))))))) :: ((Zpos (XI (XO (XI (XO (XI
+    (XI XH))))))) :: ((Zpos (XI (XO (XI (XI (XO (XI XH))))))) :: ((Zpos (XO
+    (XO (XO (XO (XI (XI XH))))))) :: ((Zpos (XI (XO (XI (XI (XO
+    XH)))))) :: ((Zpos (XI (XO (XO (XO (XO (XI XH))))))) :: ((Zpos (XI (XI
+    (XO (XO (XO (XI XH))))))) :: ((Zpos (XI (XI (XO (XO (XO (XI
+    XH))))))) :: ((Zpos (XI (XO (XI (XO (XO (XI XH))))))) :: ((Zpos (XO (XO
+    (XO (XO (XI (XI XH))))))) :: ((Zpos (XO (XO (XI (XO (XI (XI
+    XH))))))) :: []))))))))))) :: [])) :: ((((Zpos (XI (XI (XO (XI (XO (XI
+    XH))))))) :: ((Zpos (XI (XO (XO (XI (XO (XI XH))))))) :: ((Zpos (XO (XO
+    (XI (XI (XO (XI XH))))))) :: ((Zpos (XO (XO (XI (XI (XO (XI
+    XH))))))) :: ((Zpos (XI (XO (XI (XI (XO XH)))))) :: ((Zpos (XO (XO (XI
+    (XI (XO (XI XH))))))) :: ((Zpos (XI (XO (XO (XI (XO (XI
+    XH))))))) :: ((Zpos (XO (XI (XI (XI (XO (XI XH))))))) :: ((Zpos (XI (XO
+    (XI (XO (XO (XI XH))))))) :: []))))))))), (((Zpos (XI (XI (XO (XI (XO (XI
+    XH))))))) :: ((Zpos (XI (XO (XO (XI (XO (XI XH))))))) :: ((Zpos (XO (XO
+    (XI (XI (XO (XI XH))))))) :: ((Zpos (XO (XO (XI (XI (XO (XI
+    XH))))))) :: ((Zpos (XI (XO (XI (XI (XO XH)))))) :: ((Zpos (XO (XO (XI
+    (XI (XO (XI XH))))))) :: ((Zpos (XI (XO (XO (XI (XO (XI
+    XH))))))) :: ((Zpos (XO (XI (XI (XI (XO (XI XH))))))) :: ((Zpos (XI (XO
+    (XI (XO (XO (XI XH))))))) :: []))))))))) :: [])) :: ((((Zpos (XI (XI (XO
+    (XI (XO (XI XH))))))) :: ((Zpos (XI (XO (XO (XI (XO (XI
+    XH))))))) :: ((Zpos (XO (XO (XI (XI (XO (XI XH))))))) :: ((Zpos (XO (XO
+    (XI (XI (XO (XI XH))))))) :: ((Zpos (XI (XO (XI (XI (XO
+    XH)))))) :: ((Zpos (XI (XI (XI (XO (XI (XI XH))))))) :: ((Zpos (XI (XI
+    (XI (XI (XO (XI XH))))))) :: ((Zpos (XO (XI (XO (XO (XI (XI
+    XH))))))) :: ((Zpos (XO (XO (XI (XO (XO (XI XH))))))) :: []))))))))),
+    (((Zpos (XI (XI (XO (XI (XO (XI XH))))))) :: ((Zpos (XI (XO (XO (XI (XO
+    (XI XH))))))) :: ((Zpos (XO (XO (XI (XI (XO (XI XH))))))) :: ((Zpos (XO
+    (XO (XI (XI (XO (XI XH))))))) :: ((Zpos (XI (XO (XI (XI (XO
+    XH)))))) :: ((Zpos (XI (XI (XI (XO (XI (XI XH))))))) :: ((Zpos (XI (XI
+    (XI (XI (XO (XI XH))))))) :: ((Zpos (XO (XI (XO (XO (XI (XI
+    XH))))))) :: ((Zpos (XO (XO (XI (XO (XO (XI
+    XH))))))) :: []))))))))) :: [])) :: ((((Zpos (XI (XO (XI (XO (XI (XI
+    XH))))))) :: ((Zpos (XO (XI (XI (XI (XO (XI XH))))))) :: ((Zpos (XI (XO
+    (XO (XI (XO (XI XH))))))) :: ((Zpos (XO (XO (XO (XI (XI (XI
+    XH))))))) :: ((Zpos (XI (XO (XI (XI (XO XH)))))) :: ((Zpos (XO (XO (XI
+    (XI (XO (XI XH))))))) :: ((Zpos (XI (XO (XO (XI (XO (XI
+    XH))))))) :: ((Zpos (XO (XI (XI (XI (XO (XI XH))))))) :: ((Zpos (XI (XO
+    (XI (XO (XO (XI XH))))))) :: ((Zpos (XI (XO (XI (XI (XO
+    XH)))))) :: ((Zpos (XO (XO (XI (XO (XO (XI XH))))))) :: ((Zpos (XI (XO
+    (XO (XI (XO (XI XH))))))) :: ((Zpos (XI (XI (XO (XO (XI (XI
+    XH))))))) :: ((Zpos (XI (XI (XO (XO (XO (XI XH))))))) :: ((Zpos (XI (XO
+    (XO (XO (XO (XI XH))))))) :: ((Zpos (XO (XI (XO (XO (XI (XI
+    XH))))))) :: ((Zpos (XO (XO (XI (XO (XO (XI
+    XH))))))) :: []))))))))))))))))), (((Zpos (XI (XO (XI (XO (XI (XI
+    XH))))))) :: ((Zpos (XO (XI (XI (XI (XO (XI XH))))))) :: ((Zpos (XI (XO
+    (XO (XI (XO (XI XH))))))) :: ((Zpos (XO (XO (XO (XI (XI (XI
+    XH))))))) :: ((Zpos (XI (XO (XI (XI (XO XH)))))) :: ((Zpos (XO (XO (XI
+    (XI (XO (XI XH))))))) :: ((Zpos (XI (XO (XO (XI (XO (XI
+    XH))))))) :: ((Zpos (XO (XI (XI (XI (XO (XI XH))))))) :: ((Zpos (XI (XO
+    (XI (XO (XO (XI XH))))))) :: ((Zpos (XI (XO (XI (XI (XO
+    XH)))))) :: ((Zpos (XO (XO (XI (XO (XO (XI XH))))))) :: ((Zpos (XI (XO
+    (XO (XI (XO (XI XH))))))) :: ((Zpos (XI (XI (XO (XO (XI (XI
+    XH))))))) :: ((Zpos (XI (XI (XO (XO (XO (XI XH))))))) :: ((Zpos (XI (XO
+    (XO (XO (XO (XI XH))))))) :: ((Zpos (XO (XI (XO (XO (XI (XI
+    XH))))))) :: ((Zpos (XO (XO (XI (XO (XO (XI
+    XH))))))) :: []))))))))))))))))) :: [])) :: ((((Zpos (XO (XO (XI (XI (XO
+    (XI XH))))))) :: ((Zpos (XI (XO (XO (XI (XO (XI XH))))))) :: ((Zpos (XO
+    (XI (XI (XI (XO (XI XH))))))) :: ((Zpos (XI (XO (XI (XO (XO (XI
+    XH))))))) :: ((Zpos (XI (XO (XI (XI (XO XH)))))) :: ((Zpos (XO (XO (XI
+    (XO (XO (XI XH))))))) :: ((Zpos (XI (XO (XO (XI (XO (XI
+    XH))))))) :: ((Zpos (XI (XI (XO (XO (XI (XI XH))))))) :: ((Zpos (XI (XI
+    (XO (XO (XO (XI XH))))))) :: ((Zpos (XI (XO (XO (XO (XO (XI
+    XH))))))) :: ((Zpos (XO (XI (XO (XO (XI (XI XH))))))) :: ((Zpos (XO (XO
+    (XI (XO (XO (XI XH))))))) :: [])))))))))))), (((Zpos (XI (XO (XI (XO (XI
+    (XI XH))))))) :: ((Zpos (XO (XI (XI (XI (XO (XI XH))))))) :: ((Zpos (XI
+    (XO (XO (XI (XO (XI XH))))))) :: ((Zpos (XO (XO (XO (XI (XI (XI
+    XH))))))) :: ((Zpos (XI (XO (XI (XI (XO XH)))))) :: ((Zpos (XO (XO (XI
+    (XI (XO (XI XH))))))) :: ((Zpos (XI (XO (XO (XI (XO (XI
+    XH))))))) :: ((Zpos (XO (XI (XI (XI (XO (XI XH))))))) :: ((Zpos (XI (XO
+    (XI (XO (XO (XI XH))))))) :: ((Zpos (XI (XO (XI (XI (XO
+    XH)))))) :: ((Zpos (XO (XO (XI (XO (XO (XI XH))))))) :: ((Zpos (XI (XO
+    (XO (XI (XO (XI XH))))))) :: ((Zpos (XI (XI (XO (XO (XI (XI
+    XH))))))) :: ((Zpos (XI (XI (XO (XO (XO (XI XH))))))) :: ((Zpos (XI (XO
+    (XO (XO (XO (XI XH))))))) :: ((Zpos (XO (XI (XO (XO (XI (XI
+    XH))))))) :: ((Zpos (XO (XO (XI (XO (XO (XI
+    XH))))))) :: []))))))))))))))))) :: [])) :: ((((Zpos (XI (XO (XI (XO (XI
+    (XI XH))))))) :: ((Zpos (XO (XI (XI (XI (XO (XI XH))))))) :: ((Zpos (XI
+    (XO (XO (XI (XO (XI XH))))))) :: ((Zpos (XO (XO (XO (XI (XI (XI
+    XH))))))) :: ((Zpos (XI (XO (XI (XI (XO XH)))))) :: ((Zpos (XI (XI (XI
+    (XO (XI (XI XH))))))) :: ((Zpos (XI (XI (XI (XI (XO (XI
+    XH))))))) :: ((Zpos (XO (XI (XO (XO (XI (XI XH))))))) :: ((Zpos (XO (XO
+    (XI (XO (XO (XI XH))))))) :: ((Zpos (XI (XO (XI (XI (XO
+    XH)))))) :: ((Zpos (XO (XI (XO (XO (XI (XI XH))))))) :: ((Zpos (XI (XO
+    (XI (XO (XI (XI XH))))))) :: ((Zpos (XO (XI (XO (XO (XO (XI
+    XH))))))) :: ((Zpos (XI (XI (XI (XI (XO (XI XH))))))) :: ((Zpos (XI (XO
+    (XI (XO (XI (XI XH))))))) :: ((Zpos (XO (XO (XI (XO (XI (XI
+    XH))))))) :: [])))))))))))))))), (((Zpos (XI (XO (XI (XO (XI (XI
+    XH))))))) :: ((Zpos (XO (XI (XI (XI (XO (XI XH))))))) :: ((Zpos (XI (XO
+    (XO (XI (XO (XI XH))))))) :: ((Zpos (XO (XO (XO (XI (XI (XI
+    XH))))))) :: ((Zpos (XI (XO (XI (XI (XO XH)))))) :: ((Zpos (XI (XI (XI
+    (XO (XI (XI XH))))))) :: ((Zpos (XI (XI (XI (XI (XO (XI
+    XH))))))) :: ((Zpos (XO (XI (XO (XO (XI (XI XH))))))) :: ((Zpos (XO (XO
+    (XI (XO (XO (XI XH))))))) :: ((Zpos (XI (XO (XI (XI (XO
+    XH)))))) :: ((Zpos (XO (XI (XO (XO (XI (XI XH))))))) :: ((Zpos (XI (XO
+    (XI (XO (XI (XI XH))))))) :: ((Zpos (XO (XI (XO (XO (XO (XI
+    XH))))))) :: ((Zpos (XI (XI (XI (XI (XO (XI XH))))))) :: ((Zpos (XI (XO
+    (XI (XO (XI (XI XH))))))) :: ((Zpos (XO (XO (XI (XO (XI (XI
+    XH))))))) :: [])))))))))))))))) :: [])) :: ((((Zpos (XI (XI (XI (XO (XI
+    (XI XH))))))) :: ((Zpos (XI (XI (XI (XI (XO (XI XH))))))) :: ((Zpos (XO
+    (XI (XO (XO (XI (XI XH))))))) :: ((Zpos (XO (XO (XI (XO (XO (XI
+    XH))))))) :: ((Zpos (XI (XO (XI (XI (XO XH)))))) :: ((Zpos (XO (XI (XO
+    (XO (XI (XI XH))))))) :: ((Zpos (XI (XO (XI (XO (XI (XI
+    XH))))))) :: ((Zpos (XO (XI (XO (XO (XO (XI XH))))))) :: ((Zpos (XI (XI
+    (XI (XI (XO (XI XH))))))) :: ((Zpos (XI (XO (XI (XO (XI (XI
+    XH))))))) :: ((Zpos (XO (XO (XI (XO (XI (XI XH))))))) :: []))))))))))),
+    (((Zpos (XI (XO (XI (XO (XI (XI XH))))))) :: ((Zpos (XO (XI (XI (XI (XO
+    (XI XH))))))) :: ((Zpos (XI (XO (XO (XI (XO (XI XH))))))) :: ((Zpos (XO
+    (XO (XO (XI (XI (XI XH))))))) :: ((Zpos (XI (XO (XI (XI (XO
+    XH)))))) :: ((Zpos (XI (XI (XI (XO (XI (XI XH))))))) :: ((Zpos (XI (XI
+    (XI (XI (XO (XI XH))))))) :: ((Zpos (XO (XI (XO (XO (XI (XI
+    XH))))))) :: ((Zpos (XO (XO (XI (XO (XO (XI XH))))))) :: ((Zpos (XI (XO
+    (XI (XI (XO XH)))))) :: ((Zpos (XO (XI (XO (XO (XI (XI
+    XH))))))) :: ((Zpos (XI (XO (XI (XO (XI (XI XH))))))) :: ((Zpos (XO (XI
+    (XO (XO (XO (XI XH))))))) :: ((Zpos (XI (XI (XI (XI (XO (XI
+    XH))))))) :: ((Zpos (XI (XO (XI (XO (XI (XI XH))))))) :: ((Zpos (XO (XO
+    (XI (XO (XI (XI XH))))))) :: [])))))))))))))))) :: [])) :: ((((Zpos (XI
+    (XO (XO (XI (XI (XI XH))))))) :: ((Zpos (XI (XO (XO (XO (XO (XI
+    XH))))))) :: ((Zpos (XO (XI (XI (XI (XO (XI XH))))))) :: ((Zpos (XI (XI
+    (XO (XI (XO (XI XH))))))) :: [])))), (((Zpos (XI (XO (XO (XI (XI (XI
+    XH))))))) :: ((Zpos (XI (XO (XO (XO (XO (XI XH))))))) :: ((Zpos (XO (XI
+    (XI (XI (XO (XI XH))))))) :: ((Zpos (XI (XI (XO (XI (XO (XI
+    XH))))))) :: [])))) :: [])) :: ((((Zpos (XO (XI (XO (XO (XO (XI
+    XH))))))) :: ((Zpos (XI (XO (XO (XO (XO (XI XH))))))) :: ((Zpos (XI (XI
+    (XO (XO (XO (XI XH))))))) :: ((Zpos (XI (XI (XO (XI (XO (XI
+    XH))))))) :: ((Zpos (XI (XI (XI (XO (XI (XI XH))))))) :: ((Zpos (XI (XO
+    (XO (XO (XO (XI XH))))))) :: ((Zpos (XO (XI (XO (XO (XI (XI
+    XH))))))) :: ((Zpos (XO (XO (XI (XO (XO (XI XH))))))) :: ((Zpos (XI (XO
+    (XI (XI (XO XH)))))) :: ((Zpos (XI (XI (XO (XI (XO (XI
+    XH))))))) :: ((Zpos (XI (XO (XO (XI (XO (XI XH))))))) :: ((Zpos (XO (XO
+    (XI (XI (XO (XI XH))))))) :: ((Zpos (XO (XO (XI (XI (XO (XI
+    XH))))))) :: ((Zpos (XI (XO (XI (XI (XO XH)))))) :: ((Zpos (XI (XI (XI
+    (XO (XI (XI XH))))))) :: ((Zpos (XI (XI (XI (XI (XO (XI
+    XH))))))) :: ((Zpos (XO (XI (XO (XO (XI (XI XH))))))) :: ((Zpos (XO (XO
+    (XI (XO (XO (XI XH))))))) :: [])))))))))))))))))), (((Zpos (XO (XI (XO
+    (XO (XO (XI XH))))))) :: ((Zpos (XI (XO (XO (XO (XO (XI
+    XH))))))) :: ((Zpos (XI (XI (XO (XO (XO (XI XH))))))) :: ((Zpos (XI (XI
+    (XO (XI (XO (XI XH))))))) :: ((Zpos (XI (XI (XI (XO (XI (XI
+    XH))))))) :: ((Zpos (XI (XO (XO (XO (XO (XI XH))))))) :: ((Zpos (XO (XI
+    (XO (XO (XI (XI XH))))))) :: ((Zpos (XO (XO (XI (XO (XO (XI
+    XH))))))) :: ((Zpos (XI (XO (XI (XI (XO XH)))))) :: ((Zpos (XI (XI (XO
+    (XI (XO (XI XH))))))) :: ((Zpos (XI (XO (XO (XI (XO (XI
+    XH))))))) :: ((Zpos (XO (XO (XI (XI (XO (XI XH))))))) :: ((Zpos (XO (XO
+    (XI (XI (XO (XI XH))))))) :: ((Zpos (XI (XO (XI (XI (XO
+    XH)))))) :: ((Zpos (XI (XI (XI (XO (XI (XI XH))))))) :: ((Zpos (XI (XI
+    (XI (XI (XO (XI XH))))))) :: ((Zpos (XO (XI (XO (XO (XI (XI
+    XH))))))) :: ((Zpos (XO (XO (XI (XO (XO (XI
+    XH))))))) :: [])))))))))))))))))) :: [])) :: ((((Zpos (XO (XO (XI (XO (XI
+    (XI XH))))))) :: ((Zpos (XI (XI (XI (XI (XO (XI XH))))))) :: ((Zpos (XI
+    (XI (XI (XO (XO (XI XH))))))) :: ((Zpos (XI (XI (XI (XO (XO (XI
+    XH))))))) :: ((Zpos (XO (XO (XI (XI (XO (XI XH))))))) :: ((Zpos (XI (XO
+    (XI (XO (XO (XI XH))))))) :: ((Zpos (XI (XO (XI (XI (XO
+    XH)))))) :: ((Zpos (XO (XO (XI (XO (XO (XI XH))))))) :: ((Zpos (XI (XI
+    (XI (XI (XO (XI XH))))))) :: ((Zpos (XI (XI (XI (XO (XI (XI
+    XH))))))) :: ((Zpos (XO (XI (XI (XI (XO (XI XH))))))) :: []))))))))))),
+    (((Zpos (XO (XO (XI (XO (XI (XI XH))))))) :: ((Zpos (XI (XI (XI (XI (XO
+    (XI XH))))))) :: ((Zpos (XI (XI (XI (XO (XO (XI XH))))))) :: ((Zpos (XI
+    (XI (XI (XO (XO (XI XH))))))) :: ((Zpos (XO (XO (XI (XI (XO (XI
+    XH))))))) :: ((Zpos (XI (XO (XI (XO (XO (XI
+    XH))))))) :: [])))))) :: (((Zpos (XO (XO (XI (XO (XO (XI
+    XH))))))) :: ((Zpos (XI (XI (XI (XI (XO (XI XH))))))) :: ((Zpos (XI (XI
+    (XI (XO (XI (XI XH))))))) :: ((Zpos (XO (XI (XI (XI (XO (XI
+    XH))))))) :: [])))) :: []))) :: ((((Zpos (XO (XO (XI (XO (XI (XI
+    XH))))))) :: ((Zpos (XI (XI (XI (XI (XO (XI XH))))))) :: ((Zpos (XI (XI
+    (XI (XO (XO (XI XH))))))) :: ((Zpos (XI (XI (XI (XO (XO (XI
+    XH))))))) :: ((Zpos (XO (XO (XI (XI (XO (XI XH))))))) :: ((Zpos (XI (XO
+    (XI (XO (XO (XI XH))))))) :: ((Zpos (XI (XO (XI (XI (XO
+    XH)))))) :: ((Zpos (XI (XO (XI (XO (XI (XI XH))))))) :: ((Zpos (XO (XO
+    (XO (XO (XI (XI XH))))))) :: []))))))))), (((Zpos (XO (XO (XI (XO (XI (XI
+    XH))))))) :: ((Zpos (XI (XI (XI (XI (XO (XI XH))))))) :: ((Zpos (XI (XI
+    (XI (XO (XO (XI XH))))))) :: ((Zpos (XI (XI (XI (XO (XO (XI
+    XH))))))) :: ((Zpos (XO (XO (XI (XI (XO (XI XH))))))) :: ((Zpos (XI (XO
+    (XI (XO (XO (XI XH))))))) :: [])))))) :: (((Zpos (XI (XO (XI (XO (XI (XI
+    XH))))))) :: ((Zpos (XO (XO (XO (XO (XI (XI
+    XH))))))) :: [])) :: []))) :: ((((Zpos (XO (XO (XI (XO (XI (XI
+    XH))))))) :: ((Zpos (XI (XI (XI (XI (XO (XI XH))))))) :: ((Zpos (XI (XI
+    (XI (XO (XO (XI XH))))))) :: ((Zpos (XI (XI (XI (XO (XO (XI
+    XH))))))) :: ((Zpos (XO (XO (XI (XI (XO (XI XH))))))) :: ((Zpos (XI (XO
+    (XI (XO (XO (XI XH))))))) :: ((Zpos (XI (XO (XI (XI (XO
+    XH)))))) :: ((Zpos (XI (XO (XO (XI (XO (XI XH))))))) :: ((Zpos (XO (XI
+    (XI (XI (XO (XI XH))))))) :: []))))))))), (((Zpos (XO (XO (XI (XO (XI (XI
+    XH))))))) :: ((Zpos (XI (XI (XI (XI (XO (XI XH))))))) :: ((Zpos (XI (XI
+    (XI (XO (XO (XI XH))))))) :: ((Zpos (XI (XI (XI (XO (XO (XI
+    XH))))))) :: ((Zpos (XO (XO (XI (XI (XO (XI XH))))))) :: ((Zpos (XI (XO
+    (XI (XO (XO (XI XH))))))) :: ((Zpos (XI (XO (XI (XI (XO
+    XH)))))) :: ((Zpos (XI (XO (XO (XI (XO (XI XH))))))) :: ((Zpos (XO (XI
+    (XI (XI (XO (XI XH))))))) :: []))))))))) :: [])) :: ((((Zpos (XO (XO (XI
+    (XO (XI (XI XH))))))) :: ((Zpos (XI (XI (XI (XI (XO (XI
+    XH))))))) :: ((Zpos (XI (XI (XI (XO (XO (XI XH))))))) :: ((Zpos (XI (XI
+    (XI (XO (XO (XI XH))))))) :: ((Zpos (XO (XO (XI (XI (XO (XI
+    XH))))))) :: ((Zpos (XI (XO (XI (XO (XO (XI XH))))))) :: ((Zpos (XI (XO
+    (XI (XI (XO XH)))))) :: ((Zpos (XI (XI (XI (XI (XO (XI
+    XH))))))) :: ((Zpos (XI (XO (XI (XO (XI (XI XH))))))) :: ((Zpos (XO (XO
+    (XI (XO (XI (XI XH))))))) :: [])))))))))), (((Zpos (XO (XO (XI (XO (XI
+    (XI XH))))))) :: ((Zpos (XI (XI (XI (XI (XO (XI XH))))))) :: ((Zpos (XI
+    (XI (XI (XO (XO (XI XH))))))) :: ((Zpos (XI (XI (XI (XO (XO (XI
+    XH))))))) :: ((Zpos (XO (XO (XI (XI (XO (XI XH))))))) :: ((Zpos (XI (XO
+    (XI (XO (XO (XI XH))))))) :: ((Zpos (XI (XO (XI (XI (XO
+    XH)))))) :: ((Zpos (XI (XI (XI (XI (XO (XI XH))))))) :: ((Zpos (XI (XO
+    (XI (XO (XI (XI XH))))))) :: ((Zpos (XO (XO (XI (XO (XI (XI
+    XH))))))) :: [])))))))))) :: [])) :: ((((Zpos (XO (XO (XI (XO (XI (XI
+    XH))))))) :: ((Zpos (XI (XI (XI (XI (XO (XI XH))))))) :: ((Zpos (XI (XI
+    (XI (XO (XO (XI XH))))))) :: ((Zpos (XI (XI (XI (XO (XO (XI
+    XH))))))) :: ((Zpos (XO (XO (XI (XI (XO (XI XH))))))) :: ((Zpos (XI (XO
+    (XI (XO (XO (XI XH))))))) :: ((Zpos (XI (XO (XI (XI (XO
+    XH)))))) :: ((Zpos (XI (XO (XO (XO (XO (XI XH))))))) :: ((Zpos (XO (XO
+    (XI (XI (XO (XI XH))))))) :: ((Zpos (XO (XO (XI (XI (XO (XI
+    XH))))))) :: [])))))))))), (((Zpos (XO (XO (XI (XO (XI (XI
+    XH))))))) :: ((Zpos (XI (XI (XI (XI (XO (XI XH))))))) :: ((Zpos (XI (XI
+    (XI (XO (XO (XI XH))))))) :: ((Zpos (XI (XI (XI (XO (XO (XI
+    XH))))))) :: ((Zpos (XO (XO (XI (XI (XO (XI XH))))))) :: ((Zpos (XI (XO
+    (XI (XO (XO (XI XH))))))) :: ((Zpos (XI (XO (XI (XI (XO
+    XH)))))) :: ((Zpos (XI (XO (XO (XO (XO (XI XH))))))) :: ((Zpos (XO (XO
+    (XI (XI (XO (XI XH))))))) :: ((Zpos (XO (XO (XI (XI (XO (XI
+    XH))))))) :: [])))))))))) :: [])) :: ((((Zpos (XO (XO (XI (XO (XI (XI
+    XH))))))) :: ((Zpos (XI (XI (XI (XI (XO (XI XH))))))) :: ((Zpos (XI (XI
+    (XI (XO (XO (XI XH))))))) :: ((Zpos (XI (XI (XI (XO (XO (XI
+    XH))))))) :: ((Zpos (XO (XO (XI (XI (XO (XI XH))))))) :: ((Zpos (XI (XO
+    (XI (XO (XO (XI XH))))))) :: ((Zpos (XI (XO (XI (XI (XO
+    XH)))))) :: ((Zpos (XI (XI (XO (XO (XI (XI XH))))))) :: ((Zpos (XI (XO
+    (XI (XO (XO (XI XH))))))) :: ((Zpos (XI (XO (XO (XO (XO (XI
+    XH))))))) :: ((Zpos (XO (XI (XO (XO (XI (XI XH))))))) :: ((Zpos (XI (XI
+    (XO (XO (XO (XI XH))))))) :: ((Zpos (XO (XO (XO (XI (XO (XI
+    XH))))))) :: []))))))))))))), (((Zpos (XO (XO (XI (XO (XI (XI
+    XH))))))) :: ((Zpos (XI (XI (XI (XI (XO (XI XH))))))) :: ((Zpos (XI (XI
+    (XI (XO (XO (XI XH))))))) :: ((Zpos (XI (XI (XI (XO (XO (XI
+    XH))))))) :: ((Zpos (XO (XO (XI (XI (XO (XI XH))))))) :: ((Zpos (XI (XO
+    (XI (XO (XO (XI XH))))))) :: ((Zpos (XI (XO (XI (XI (XO
+    XH)))))) :: ((Zpos (XI (XI (XO (XO (XI (XI XH))))))) :: ((Zpos (XI (XO
+    (XI (XO (XO (XI XH))))))) :: ((Zpos (XI (XO (XO (XO (XO (XI
+    XH))))))) :: ((Zpos (XO (XI (XO (XO (XI (XI XH))))))) :: ((Zpos (XI (XI
+    (XO (XO (XO (XI XH))))))) :: ((Zpos (XO (XO (XO (XI (XO (XI
+    XH))))))) :: []))))))))))))) :: [])) :: ((((Zpos (XO (XO (XI (XO (XI (XI
+    XH))))))) :: ((Zpos (XI (XI (XI (XI (XO (XI XH))))))) :: ((Zpos (XI (XI
+    (XI (XO (XO (XI XH))))))) :: ((Zpos (XI (XI (XI (XO (XO (XI
+    XH))))))) :: ((Zpos (XO (XO (XI (XI (XO (XI XH))))))) :: ((Zpos (XI (XO
+    (XI (XO (XO (XI XH))))))) :: ((Zpos (XI (XO (XI (XI (XO
+    XH)))))) :: ((Zpos (XO (XO (XI (XO (XI (XI XH))))))) :: ((Zpos (XO (XI
+    (XO (XO (XI (XI XH))))))) :: ((Zpos (XI (XO (XO (XO (XO (XI
+    XH))))))) :: ((Zpos (XI (XI (XO (XO (XO (XI XH))))))) :: ((Zpos (XI (XI
+    (XO (XI (XO (XI XH))))))) :: [])))))))))))), (((Zpos (XO (XO (XI (XO (XI
+    (XI XH))))))) :: ((Zpos (XI (XI (XI (XI (XO (XI XH))))))) :: ((Zpos (XI
+    (XI (XI (XO (XO (XI XH))))))) :: ((Zpos (XI (XI (XI (XO (XO (XI
+    XH))))))) :: ((Zpos (XO (XO (XI (XI (XO (XI XH))))))) :: ((Zpos (XI (XO
+    (XI (XO (XO (XI XH))))))) :: ((Zpos (XI (XO (XI (XI (XO
+    XH)))))) :: ((Zpos (XO (XO (XI (XO (XI (XI XH))))))) :: ((Zpos (XO (XI
+    (XO (XO (XI (XI XH))))))) :: ((Zpos (XI (XO (XO (XO (XO (XI
+    XH))))))) :: ((Zpos (XI (XI (XO (XO (XO (XI XH))))))) :: ((Zpos (XI (XI
+    (XO (XI (XO (XI XH))))))) :: [])))))))))))) :: [])) :: ((((Zpos (XO (XO
+    (XI (XO (XI (XI XH))))))) :: ((Zpos (XI (XI (XI (XI (XO (XI
+    XH))))))) :: ((Zpos (XI (XI (XI (XO (XO (XI XH))))))) :: ((Zpos (XI (XI
+    (XI (XO (XO (XI XH))))))) :: ((Zpos (XO (XO (XI (XI (XO (XI
+    XH))))))) :: ((Zpos (XI (XO (XI (XO (XO (XI XH))))))) :: ((Zpos (XI (XO
+    (XI (XI (XO XH)))))) :: ((Zpos (XO (XO (XI (XO (XI (XI
+    XH))))))) :: ((Zpos (XO (XI (XO (XO (XI (XI XH))))))) :: ((Zpos (XI (XO
+    (XO (XO (XO (XI XH))))))) :: ((Zpos (XI (XI (XO (XO (XO (XI
+    XH))))))) :: ((Zpos (XI (XI (XO (XI (XO (XI XH))))))) :: ((Zpos (XI (XO
+    (XI (XI (XO XH)))))) :: ((Zpos (XI (XI (XO (XO (XO (XI
+    XH))))))) :: ((Zpos (XI (XO (XI (XO (XI (XI XH))))))) :: ((Zpos (XO (XI
+    (XO (XO (XI (XI XH))))))) :: ((Zpos (XO (XI (XO (XO (XI (XI
+    XH))))))) :: ((Zpos (XI (XO (XI (XO (XO (XI XH))))))) :: ((Zpos (XO (XI
+    (XI (XI (XO (XI XH))))))) :: ((Zpos (XO (XO (XI (XO (XI (XI
+    XH))))))) :: [])))))))))))))))))))), (((Zpos (XO (XO (XI (XO (XI (XI
+    XH))))))) :: ((Zpos (XI (XI (XI (XI (XO (XI XH))))))) :: ((Zpos (XI (XI
+    (XI (XO (XO (XI XH))))))) :: ((Zpos (XI (XI (XI (XO (XO (XI
+    XH))))))) :: ((Zpos (XO (XO (XI (XI (XO (XI XH))))))) :: ((Zpos (XI (XO
+    (XI (XO (XO (XI XH))))))) :: ((Zpos (XI (XO (XI (XI (XO
+    XH)))))) :: ((Zpos (XO (XO (XI (XO (XI (XI XH))))))) :: ((Zpos (XO (XI
+    (XO (XO (XI (XI XH))))))) :: ((Zpos (XI (XO (XO (XO (XO (XI
+    XH))))))) :: ((Zpos (XI (XI (XO (XO (XO (XI XH))))))) :: ((Zpos (XI (XI
+    (XO (XI (XO (XI XH))))))) :: ((Zpos (XI (XO (XI (XI (XO
+    XH)))))) :: ((Zpos (XI (XI (XO (XO (XO (XI XH))))))) :: ((Zpos (XI (XO
+    (XI (XO (XI (XI XH))))))) :: ((Zpos (XO (XI (XO (XO (XI (XI
+    XH))))))) :: ((Zpos (XO (XI (XO (XO (XI (XI XH))))))) :: ((Zpos (XI (XO
+    (XI (XO (XO (XI XH))))))) :: ((Zpos (XO (XI (XI (XI (XO (XI
+    XH))))))) :: ((Zpos (XO (XO (XI (XO (XI (XI
+    XH))))))) :: [])))))))))))))))))))) :: [])) :: ((((Zpos (XO (XO (XI (XO
+    (XI (XI XH))))))) :: ((Zpos (XI (XI (XI (XI (XO (XI XH))))))) :: ((Zpos
+    (XI (XI (XI (XO (XO (XI XH))))))) :: ((Zpos (XI (XI (XI (XO (XO (XI
+    XH))))))) :: ((Zpos (XO (XO (XI (XI (XO (XI XH))))))) :: ((Zpos (XI (XO
+    (XI (XO (XO (XI XH))))))) :: ((Zpos (XI (XO (XI (XI (XO
+    XH)))))) :: ((Zpos (XI (XO (XO (XI (XO (XI XH))))))) :: ((Zpos (XO (XI
+    (XI (XI (XO (XI XH))))))) :: ((Zpos (XO (XO (XO (XO (XI (XI
+    XH))))))) :: ((Zpos (XI (XO (XI (XO (XI (XI XH))))))) :: ((Zpos (XO (XO
+    (XI (XO (XI (XI XH))))))) :: [])))))))))))), (((Zpos (XO (XO (XI (XO (XI
+    (XI XH))))))) :: ((Zpos (XI (XI (XI (XI (XO (XI XH))))))) :: ((Zpos (XI
+    (XI (XI (XO (XO (XI XH))))))) :: ((Zpos (XI (XI (XI (XO (XO (XI
+    XH))))))) :: ((Zpos (XO (XO (XI (XI (XO (XI XH))))))) :: ((Zpos (XI (XO
+    (XI (XO (XO (XI XH))))))) :: ((Zpos (XI (XO (XI (XI (XO
+    XH)))))) :: ((Zpos (XI (XO (XO (XI (XO (XI XH))))))) :: ((Zpos (XO (XI
+    (XI (XI (XO (XI XH))))))) :: ((Zpos (XO (XO (XO (XO (XI (XI
+    XH))))))) :: ((Zpos (XI (XO (XI (XO (XI (XI XH))))))) :: ((Zpos (XO (XO
+    (XI (XO (XI (XI XH))))))) :: [])))))))))))) :: [])) :: ((((Zpos (XO (XO
+    (XO (XI (XO (XI XH))))))) :: ((Zpos (XI (XO (XO (XI (XO (XI
+    XH))))))) :: ((Zpos (XO (XO (XI (XO (XO (XI XH))))))) :: ((Zpos (XI (XO
+    (XI (XO (XO (XI XH))))))) :: ((Zpos (XI (XO (XI (XI (XO
+    XH)))))) :: ((Zpos (XI (XO (XO (XI (XO (XI XH))))))) :: ((Zpos (XO (XI
+    (XI (XI (XO (XI XH))))))) :: ((Zpos (XO (XO (XO (XO (XI (XI
+    XH))))))) :: ((Zpos (XI (XO (XI (XO (XI (XI XH))))))) :: ((Zpos (XO (XO
+    (XI (XO (XI (XI XH))))))) :: [])))))))))), (((Zpos (XO (XO (XO (XI (XO
+    (XI XH))))))) :: ((Zpos (XI (XO (XO (XI (XO (XI XH))))))) :: ((Zpos (XO
+    (XO (XI (XO (XO (XI XH))))))) :: ((Zpos (XI (XO (XI (XO (XO (XI
+    XH))))))) :: ((Zpos (XI (XO (XI (XI (XO XH)))))) :: ((Zpos (XI (XO (XO
+    (XI (XO (XI XH))))))) :: ((Zpos (XO (XI (XI (XI (XO (XI
+    XH))))))) :: ((Zpos (XO (XO (XO (XO (XI (XI XH))))))) :: ((Zpos (XI (XO
+    (XI (XO (XI (XI XH))))))) :: ((Zpos (XO (XO (XI (XO (XI (XI
+    XH))))))) :: [])))))))))) :: [])) :: ((((Zpos (XI (XI (XO (XO (XI (XI
+    XH))))))) :: ((Zpos (XO (XO (XO (XI (XO (XI XH))))))) :: ((Zpos (XI (XI
+    (XI (XI (XO (XI XH))))))) :: ((Zpos (XI (XI (XI (XO (XI (XI
+    XH))))))) :: ((Zpos (XI (XO (XI (XI (XO XH)))))) :: ((Zpos (XI (XO (XO
+    (XI (XO (XI XH))))))) :: ((Zpos (XO (XI (XI (XI (XO (XI
+    XH))))))) :: ((Zpos (XO (XO (XO (XO (XI (XI XH))))))) :: ((Zpos (XI (XO
+    (XI (XO (XI (XI XH))))))) :: ((Zpos (XO (XO (XI (XO (XI (XI
+    XH))))))) :: [])))))))))), (((Zpos (XI (XI (XO (XO (XI (XI
+    XH))))))) :: ((Zpos (XO (XO (XO (XI (XO (XI XH))))))) :: ((Zpos (XI (XI
+    (XI (XI (XO (XI XH))))))) :: ((Zpos (XI (XI (XI (XO (XI (XI
+    XH))))))) :: ((Zpos (XI (XO (XI (XI (XO XH)))))) :: ((Zpos (XI (XO (XO
+    (XI (XO (XI XH))))))) :: ((Zpos (XO (XI (XI (XI (XO (XI
+    XH))))))) :: ((Zpos (XO (XO (XO (XO (XI (XI XH))))))) :: ((Zpos (XI (XO
+    (XI (XO (XI (XI XH))))))) :: ((Zpos (XO (XO (XI (XO (XI (XI
+    XH))))))) :: [])))))))))) :: [])) :: ((((Zpos (XO (XO (XI (XO (XI (XI
+    XH))))))) :: ((Zpos (XI (XI (XI (XI (XO (XI XH))))))) :: ((Zpos (XI (XI
+    (XI (XO (XO (XI XH))))))) :: ((Zpos (XI (XI (XI (XO (XO (XI
+    XH))))))) :: ((Zpos (XO (XO (XI (XI (XO (XI XH))))))) :: ((Zpos (XI (XO
+    (XI (XO (XO (XI XH))))))) :: ((Zpos (XI (XO (XI (XI (XO
+    XH)))))) :: ((Zpos (XO (XO (XO (XI (XO (XI XH))))))) :: ((Zpos (XI (XO
+    (XI (XO (XO (XI XH))))))) :: ((Zpos (XI (XO (XO (XO (XO (XI
+    XH))))))) :: ((Zpos (XO (XO (XI (XO (XO (XI XH))))))) :: ((Zpos (XI (XO
+    (XI (XO (XO (XI XH))))))) :: ((Zpos (XO (XI (XO (XO (XI (XI
+    XH))))))) :: []))))))))))))), (((Zpos (XO (XO (XI (XO (XI (XI
+    XH))))))) :: ((Zpos (XI (XI (XI (XI (XO (XI XH))))))) :: ((Zpos (XI (XI
+    (XI (XO (XO (XI XH))))))) :: ((Zpos (XI (XI (XI (XO (XO (XI
+    XH))))))) :: ((Zpos (XO (XO (XI (XI (XO (XI XH))))))) :: ((Zpos (XI (XO
+    (XI (XO (XO (XI XH))))))) :: ((Zpos (XI (XO (XI (XI (XO
+    XH)))))) :: ((Zpos (XO (XO (XO (XI (XO (XI XH))))))) :: ((Zpos (XI (XO
+    (XI (XO (XO (XI XH))))))) :: ((Zpos (XI (XO (XO (XO (XO (XI
+    XH))))))) :: ((Zpos (XO (XO (XI (XO (XO (XI XH))))))) :: ((Zpos (XI (XO
+    (XI (XO (XO (XI XH))))))) :: ((Zpos (XO (XI (XO (XO (XI (XI
+    XH))))))) :: []))))))))))))) :: [])) :: ((((Zpos (XO (XO (XI (XO (XI (XI
+    XH))))))) :: ((Zpos (XI (XI (XI (XI (XO (XI XH))))))) :: ((Zpos (XI (XI
+    (XI (XO (XO (XI XH))))))) :: ((Zpos (XI (XI (XI (XO (XO (XI
+    XH))))))) :: ((Zpos (XO (XO (XI (XI (XO (XI XH))))))) :: ((Zpos (XI (XO
+    (XI (XO (XO (XI XH))))))) :: ((Zpos (XI (XO (XI (XI (XO
+    XH)))))) :: ((Zpos (XI (XI (XI (XO (XI (XI XH))))))) :: ((Zpos (XO (XI
+    (XO (XO (XI (XI XH))))))) :: ((Zpos (XI (XO (XO (XO (XO (XI
+    XH))))))) :: ((Zpos (XO (XO (XO (XO (XI (XI XH))))))) :: []))))))))))),
+    (((Zpos (XO (XO (XI (XO (XI (XI XH))))))) :: ((Zpos (XI (XI (XI (XI (XO
+    (XI XH))))))) :: ((Zpos (XI (XI (XI (XO (XO (XI XH))))))) :: ((Zpos (XI
+    (XI (XI (XO (XO (XI XH))))))) :: ((Zpos (XO (XO (XI (XI (XO (XI
+    XH))))))) :: ((Zpos (XI (XO (XI (XO (XO (XI XH))))))) :: ((Zpos (XI (XO
+    (XI (XI (XO XH)))))) :: ((Zpos (XI (XI (XI (XO (XI (XI
+    XH))))))) :: ((Zpos (XO (XI (XO (XO (XI (XI XH))))))) :: ((Zpos (XI (XO
+    (XO (XO (XO (XI XH))))))) :: ((Zpos (XO (XO (XO (XO (XI (XI
+    XH))))))) :: []))))))))))) :: [])) :: ((((Zpos (XO (XO (XI (XO (XI (XI
+    XH))))))) :: ((Zpos (XI (XI (XI (XI (XO (XI XH))))))) :: ((Zpos (XI (XI
+    (XI (XO (XO (XI XH))))))) :: ((Zpos (XI (XI (XI (XO (XO (XI
+    XH))))))) :: ((Zpos (XO (XO (XI (XI (XO (XI XH))))))) :: ((Zpos (XI (XO
+    (XI (XO (XO (XI XH))))))) :: ((Zpos (XI (XO (XI (XI (XO
+    XH)))))) :: ((Zpos (XI (XO (XI (XI (XO (XI XH))))))) :: ((Zpos (XI (XO
+    (XI (XO (XI (XI XH))))))) :: ((Zpos (XO (XO (XI (XI (XO (XI
+    XH))))))) :: ((Zpos (XO (XO (XI (XO (XI (XI XH))))))) :: ((Zpos (XI (XO
+    (XO (XI (XO (XI XH))))))) :: ((Zpos (XI (XO (XI (XI (XO
+    XH)))))) :: ((Zpos (XO (XO (XI (XI (XO (XI XH))))))) :: ((Zpos (XI (XO
+    (XO (XI (XO (XI XH))))))) :: ((Zpos (XO (XI (XI (XI (XO (XI
+    XH))))))) :: ((Zpos (XI (XO (XI (XO (XO (XI
+    XH))))))) :: []))))))))))))))))), (((Zpos (XO (XO (XI (XO (XI (XI
+    XH))))))) :: ((Zpos (XI (XI (XI (XI (XO (XI XH))))))) :: ((Zpos (XI (XI
+    (XI (XO (XO (XI XH))))))) :: ((Zpos (XI (XI (XI (XO (XO (XI
+    XH))))))) :: ((Zpos (XO (XO (XI (XI (XO (XI XH))))))) :: ((Zpos (XI (XO
+    (XI (XO (XO (XI XH))))))) :: ((Zpos (XI (XO (XI (XI (XO
+    XH)))))) :: ((Zpos (XI (XO (XI (XI (XO (XI XH))))))) :: ((Zpos (XI (XO
+    (XI (XO (XI (XI XH))))))) :: ((Zpos (XO (XO (XI (XI (XO (XI
+    XH))))))) :: ((Zpos (XO (XO (XI (XO (XI (XI XH))))))) :: ((Zpos (XI (XO
+    (XO (XI (XO (XI XH))))))) :: ((Zpos (XI (XO (XI (XI (XO
+    XH)))))) :: ((Zpos (XO (XO (XI (XI (XO (XI XH))))))) :: ((Zpos (XI (XO
+    (XO (XI (XO (XI XH))))))) :: ((Zpos (XO (XI (XI (XI (XO (XI
+    XH))))))) :: ((Zpos (XI (XO (XI (XO (XO (XI
+    XH))))))) :: []))))))))))))))))) :: [])) :: ((((Zpos (XO (XO (XI (XO (XI
+    (XI XH))))))) :: ((Zpos (XI (XI (XI (XI (XO (XI XH))))))) :: ((Zpos (XI
+    (XI (XI (XO (XO (XI XH))))))) :: ((Zpos (XI (XI (XI (XO (XO (XI
+    XH))))))) :: ((Zpos (XO (XO (XI (XI (XO (XI XH))))))) :: ((Zpos (XI (XO
+    (XI (XO (XO (XI XH))))))) :: ((Zpos (XI (XO (XI (XI (XO
+    XH)))))) :: ((Zpos (XO (XO (XO (XI (XO (XI XH))))))) :: ((Zpos (XI (XI
+    (XO (XO (XI (XI XH))))))) :: ((Zpos (XI (XI (XO (XO (XO (XI
+    XH))))))) :: ((Zpos (XO (XI (XO (XO (XI (XI XH))))))) :: ((Zpos (XI (XI
+    (XI (XI (XO (XI XH))))))) :: ((Zpos (XO (XO (XI (XI (XO (XI
+    XH))))))) :: ((Zpos (XO (XO (XI (XI (XO (XI
+    XH))))))) :: [])))))))))))))), (((Zpos (XO (XO (XI (XO (XI (XI
+    XH))))))) :: ((Zpos (XI (XI (XI (XI (XO (XI XH))))))) :: ((Zpos (XI (XI
+    (XI (XO (XO (XI XH))))))) :: ((Zpos (XI (XI (XI (XO (XO (XI
+    XH))))))) :: ((Zpos (XO (XO (XI (XI (XO (XI XH))))))) :: ((Zpos (XI (XO
+    (XI (XO (XO (XI XH))))))) :: ((Zpos (XI (XO (XI (XI (XO
+    XH)))))) :: ((Zpos (XO (XO (XO (XI (XO (XI XH))))))) :: ((Zpos (XI (XI
+    (XO (XO (XI (XI XH))))))) :: ((Zpos (XI (XI (XO (XO (XO (XI
+    XH))))))) :: ((Zpos (XO (XI (XO (XO (XI (XI XH))))))) :: ((Zpos (XI (XI
+    (XI (XI (XO (XI XH))))))) :: ((Zpos (XO (XO (XI (XI (XO (XI
+    XH))))))) :: ((Zpos (XO (XO (XI (XI (XO (XI
+    XH))))))) :: [])))))))))))))) :: [])) :: ((((Zpos (XI (XI (XO (XO (XI (XI
+    XH))))))) :: ((Zpos (XO (XO (XO (XI (XO (XI XH))))))) :: ((Zpos (XI (XI
+    (XI (XI (XO (XI XH))))))) :: ((Zpos (XI (XI (XI (XO (XI (XI
+    XH))))))) :: ((Zpos (XI (XO (XI (XI (XO XH)))))) :: ((Zpos (XO (XO (XO
+    (XI (XO (XI XH))))))) :: ((Zpos (XI (XO (XI (XO (XO (XI
+    XH))))))) :: ((Zpos (XI (XO (XO (XO (XO (XI XH))))))) :: ((Zpos (XO (XO
+    (XI (XO (XO (XI XH))))))) :: ((Zpos (XI (XO (XI (XO (XO (XI
+    XH))))))) :: ((Zpos (XO (XI (XO (XO (XI (XI XH))))))) :: []))))))))))),
+    (((Zpos (XI (XI (XO (XO (XI (XI XH))))))) :: ((Zpos (XO (XO (XO (XI (XO
+    (XI XH))))))) :: ((Zpos (XI (XI (XI (XI (XO (XI XH))))))) :: ((Zpos (XI
+    (XI (XI (XO (XI (XI XH))))))) :: ((Zpos (XI (XO (XI (XI (XO
+    XH)))))) :: ((Zpos (XO (XO (XO (XI (XO (XI XH))))))) :: ((Zpos (XI (XO
+    (XI (XO (XO (XI XH))))))) :: ((Zpos (XI (XO (XO (XO (XO (XI
+    XH))))))) :: ((Zpos (XO (XO (XI (XO (XO (XI XH))))))) :: ((Zpos (XI (XO
+    (XI (XO (XO (XI XH))))))) :: ((Zpos (XO (XI (XO (XO (XI (XI
+    XH))))))) :: []))))))))))) :: [])) :: ((((Zpos (XO (XO (XO (XI (XO (XI
+    XH))))))) :: ((Zpos (XI (XO (XO (XI (XO (XI XH))))))) :: ((Zpos (XO (XO
+    (XI (XO (XO (XI XH))))))) :: ((Zpos (XI (XO (XI (XO (XO (XI
+    XH))))))) :: ((Zpos (XI (XO (XI (XI (XO XH)))))) :: ((Zpos (XO (XO (XO
+    (XI (XO (XI XH))))))) :: ((Zpos (XI (XO (XI (XO (XO (XI
+    XH))))))) :: ((Zpos (XI (XO (XO (XO (XO (XI XH))))))) :: ((Zpos (XO (XO
+    (XI (XO (XO (XI XH))))))) :: ((Zpos (XI (XO (XI (XO (XO (XI
+    XH))))))) :: ((Zpos (XO (XI (XO (XO (XI (XI XH))))))) :: []))))))))))),
+    (((Zpos (XO (XO (XO (XI (XO (XI XH))))))) :: ((Zpos (XI (XO (XO (XI (XO
+    (XI XH))))))) :: ((Zpos (XO (XO (XI (XO (XO (XI XH))))))) :: ((Zpos (XI
+    (XO (XI (XO (XO (XI XH))))))) :: ((Zpos (XI (XO (XI (XI (XO
+    XH)))))) :: ((Zpos (XO (XO (XO (XI (XO (XI XH))))))) :: ((Zpos (XI (XO
+    (XI (XO (XO (XI XH))))))) :: ((Zpos (XI (XO (XO (XO (XO (XI
+    XH))))))) :: ((Zpos (XO (XO (XI (XO (XO (XI XH))))))) :: ((Zpos (XI (XO
+    (XI (XO (XO (XI XH))))))) :: ((Zpos (XO (XI (XO (XO (XI (XI
+    XH))))))) :: []))))))))))) :: [])) :: ((((Zpos (XO (XO (XI (XO (XI (XI
+    XH))))))) :: ((Zpos (XO (XI (XO (XO (XI (XI XH))))))) :: ((Zpos (XI (XO
+    (XO (XO (XO (XI XH))))))) :: ((Zpos (XI (XI (XO (XO (XO (XI
+    XH))))))) :: ((Zpos (XI (XI (XO (XI (XO (XI XH))))))) :: []))))), (((Zpos
+    (XO (XO (XI (XO (XI (XI XH))))))) :: ((Zpos (XO (XI (XO (XO (XI (XI
+    XH))))))) :: ((Zpos (XI (XO (XO (XO (XO (XI XH))))))) :: ((Zpos (XI (XI
+    (XO (XO (XO (XI XH))))))) :: ((Zpos (XI (XI (XO (XI (XO (XI
+    XH))))))) :: ((Zpos (XI (XO (XI (XI (XO XH)))))) :: ((Zpos (XI (XI (XO
+    (XO (XO (XI XH))))))) :: ((Zpos (XI (XO (XI (XO (XI (XI
+    XH))))))) :: ((Zpos (XO (XI (XO (XO (XI (XI XH))))))) :: ((Zpos (XO (XI
+    (XO (XO (XI (XI XH))))))) :: ((Zpos (XI (XO (XI (XO (XO (XI
+    XH))))))) :: ((Zpos (XO (XI (XI (XI (XO (XI XH))))))) :: ((Zpos (XO (XO
+    (XI (XO (XI (XI XH))))))) :: []))))))))))))) :: [])) :: ((((Zpos (XO (XO
+    (XI (XO (XI (XI XH))))))) :: ((Zpos (XO (XI (XO (XO (XI (XI
+    XH))))))) :: ((Zpos (XI (XO (XO (XO (XO (XI XH))))))) :: ((Zpos (XI (XI
+    (XO (XO (XO (XI XH))))))) :: ((Zpos (XI (XI (XO (XI (XO (XI
+    XH))))))) :: ((Zpos (XI (XO (XI (XI (XO XH)))))) :: ((Zpos (XI (XI (XO
+    (XO (XO (XI XH))))))) :: ((Zpos (XI (XO (XI (XO (XI (XI
+    XH))))))) :: ((Zpos (XO (XI (XO (XO (XI (XI XH))))))) :: ((Zpos (XO (XI
+    (XO (XO (XI (XI XH))))))) :: ((Zpos (XI (XO (XI (XO (XO (XI
+    XH))))))) :: ((Zpos (XO (XI (XI (XI (XO (XI XH))))))) :: ((Zpos (XO (XO
+    (XI (XO (XI (XI XH))))))) :: []))))))))))))), (((Zpos (XO (XO (XI (XO (XI
+    (XI XH))))))) :: ((Zpos (XO (XI (XO (XO (XI (XI XH))))))) :: ((Zpos (XI
+    (XO (XO (XO (XO (XI XH))))))) :: ((Zpos (XI (XI (XO (XO (XO (XI
+    XH))))))) :: ((Zpos (XI (XI (XO (XI (XO (XI XH))))))) :: ((Zpos (XI (XO
+    (XI (XI (XO XH)))))) :: ((Zpos (XI (XI (XO (XO (XO (XI
+    XH))))))) :: ((Zpos (XI (XO (XI (XO (XI (XI XH))))))) :: ((Zpos (XO (XI
+    (XO (XO (XI (XI XH))))))) :: ((Zpos (XO (XI (XO (XO (XI (XI
+    XH))))))) :: ((Zpos (XI (XO (XI (XO (XO (XI XH))))))) :: ((Zpos (XO (XI
+    (XI (XI (XO (XI XH))))))) :: ((Zpos (XO (XO (XI (XO (XI (XI
+    XH))))))) :: []))))))))))))) :: [])) :: ((((Zpos (XI (XO (XI (XO (XI (XI
+    XH))))))) :: ((Zpos (XO (XI (XI (XI (XO (XI XH))))))) :: ((Zpos (XO (XO
+    (XI (XO (XI (XI XH))))))) :: ((Zpos (XO (XI (XO (XO (XI (XI
+    XH))))))) :: ((Zpos (XI (XO (XO (XO (XO (XI XH))))))) :: ((Zpos (XI (XI
+    (XO (XO (XO (XI XH))))))) :: ((Zpos (XI (XI (XO (XI (XO (XI
+    XH))))))) :: ((Zpos (XI (XO (XI (XI (XO XH)))))) :: ((Zpos (XI (XI (XO
+    (XO (XO (XI XH))))))) :: ((Zpos (XI (XO (XI (XO (XI (XI
+    XH))))))) :: ((Zpos (XO (XI (XO (XO (XI (XI XH))))))) :: ((Zpos (XO (XI
+    (XO (XO (XI (XI XH))))))) :: ((Zpos (XI (XO (XI (XO (XO (XI
+    XH))))))) :: ((Zpos (XO (XI (XI (XI (XO (XI XH))))))) :: ((Zpos (XO (XO
+    (XI (XO (XI (XI XH))))))) :: []))))))))))))))), (((Zpos (XI (XO (XI (XO
+    (XI (XI XH))))))) :: ((Zpos (XO (XI (XI (XI (XO (XI XH))))))) :: ((Zpos
+    (XO (XO (XI (XO (XI (XI XH))))))) :: ((Zpos (XO (XI (XO (XO (XI (XI
+    XH))))))) :: ((Zpos (XI (XO (XO (XO (XO (XI XH))))))) :: ((Zpos (XI (XI
+    (XO (XO (XO (XI XH))))))) :: ((Zpos (XI (XI (XO (XI (XO (XI
+    XH))))))) :: ((Zpos (XI (XO (XI (XI (XO XH)))))) :: ((Zpos (XI (XI (XO
+    (XO (XO (XI XH))))))) :: ((Zpos (XI (XO (XI (XO (XI (XI
+    XH))))))) :: ((Zpos (XO (XI (XO (XO (XI (XI XH))))))) :: ((Zpos (XO (XI
+    (XO (XO (XI (XI XH))))))) :: ((Zpos (XI (XO (XI (XO (XO (XI
+    XH))))))) :: ((Zpos (XO (XI (XI (XI (XO (XI XH))))))) :: ((Zpos (XO (XO
+    (XI (XO (XI (XI XH))))))) :: []))))))))))))))) :: [])) :: ((((Zpos (XI
+    (XI (XO (XO (XI (XI XH))))))) :: ((Zpos (XI (XO (XI (XO (XO (XI
+    XH))))))) :: ((Zpos (XO (XO (XI (XI (XO (XI XH))))))) :: ((Zpos (XI (XO
+    (XI (XO (XO (XI XH))))))) :: ((Zpos (XI (XI (XO (XO (XO (XI
+    XH))))))) :: ((Zpos (XO (XO (XI (XO (XI (XI XH))))))) :: [])))))),
+    (((Zpos (XI (XI (XO (XO (XI (XI XH))))))) :: ((Zpos (XI (XO (XI (XO (XO
+    (XI XH))))))) :: ((Zpos (XO (XO (XI (XI (XO (XI XH))))))) :: ((Zpos (XI
+    (XO (XI (XO (XO (XI XH))))))) :: ((Zpos (XI (XI (XO (XO (XO (XI
+    XH))))))) :: ((Zpos (XO (XO (XI (XO (XI (XI
+    XH))))))) :: [])))))) :: [])) :: ((((Zpos (XI (XI (XO (XO (XI (XI
+    XH))))))) :: ((Zpos (XI (XO (XI (XO (XO (XI XH))))))) :: ((Zpos (XO (XO
+    (XI (XI (XO (XI XH))))))) :: ((Zpos (XI (XO (XI (XO (XO (XI
+    XH))))))) :: ((Zpos (XI (XI (XO (XO (XO (XI XH))))))) :: ((Zpos (XO (XO
+    (XI (XO (XI (XI XH))))))) :: ((Zpos (XI (XO (XI (XI (XO
+    XH)))))) :: ((Zpos (XI (XO (XO (XO (XO (XI XH))))))) :: ((Zpos (XO (XO
+    (XI (XI (XO (XI XH))))))) :: ((Zpos (XO (XO (XI (XI (XO (XI
+    XH))))))) :: [])))))))))), (((Zpos (XI (XI (XO (XO (XI (XI
+    XH))))))) :: ((Zpos (XI (XO (XI (XO (XO (XI XH))))))) :: ((Zpos (XO (XO
+    (XI (XI (XO (XI XH))))))) :: ((Zpos (XI (XO (XI (XO (XO (XI
+    XH))))))) :: ((Zpos (XI (XI (XO (XO (XO (XI XH))))))) :: ((Zpos (XO (XO
+    (XI (XO (XI (XI XH))))))) :: ((Zpos (XI (XO (XI (XI (XO
+    XH)))))) :: ((Zpos (XI (XO (XO (XO (XO (XI XH))))))) :: ((Zpos (XO (XO
+    (XI (XI (XO (XI XH))))))) :: ((Zpos (XO (XO (XI (XI (XO (XI
+    XH))))))) :: [])))))))))) :: [])) :: ((((Zpos (XO (XO (XI (XO (XO (XI
+    XH))))))) :: ((Zpos (XI (XO (XI (XO (XO (XI XH))))))) :: ((Zpos (XI (XI
+    (XO (XO (XI (XI XH))))))) :: ((Zpos (XI (XO (XI (XO (XO (XI
+    XH))))))) :: ((Zpos (XO (XO (XI (XI (XO (XI XH))))))) :: ((Zpos (XI (XO
+    (XI (XO (XO (XI XH))))))) :: ((Zpos (XI (XI (XO (XO (XO (XI
+    XH))))))) :: ((Zpos (XO (XO (XI (XO (XI (XI XH))))))) :: ((Zpos (XI (XO
+    (XI (XI (XO XH)))))) :: ((Zpos (XI (XO (XO (XO (XO (XI
+    XH))))))) :: ((Zpos (XO (XO (XI (XI (XO (XI XH))))))) :: ((Zpos (XO (XO
+    (XI (XI (XO (XI XH))))))) :: [])))))))))))), (((Zpos (XO (XO (XI (XO (XO
+    (XI XH))))))) :: ((Zpos (XI (XO (XI (XO (XO (XI XH))))))) :: ((Zpos (XI
+    (XI (XO (XO (XI (XI XH))))))) :: ((Zpos (XI (XO (XI (XO (XO (XI
+    XH))))))) :: ((Zpos (XO (XO (XI (XI (XO (XI XH))))))) :: ((Zpos (XI (XO
+    (XI (XO (XO (XI XH))))))) :: ((Zpos (XI (XI (XO (XO (XO (XI
+    XH))))))) :: ((Zpos (XO (XO (XI (XO (XI (XI XH))))))) :: ((Zpos (XI (XO
+    (XI (XI (XO XH)))))) :: ((Zpos (XI (XO (XO (XO (XO (XI
+    XH))))))) :: ((Zpos (XO (XO (XI (XI (XO (XI XH))))))) :: ((Zpos (XO (XO
+    (XI (XI (XO (XI XH))))))) :: [])))))))))))) :: [])) :: ((((Zpos (XI (XI
+    (XO (XO (XO (XI XH))))))) :: ((Zpos (XO (XO (XI (XI (XO (XI
+    XH))))))) :: ((Zpos (XI (XI (XI (XI (XO (XI XH))))))) :: ((Zpos (XI (XI
+    (XO (XO (XI (XI XH))))))) :: ((Zpos (XI (XO (XI (XO (XO (XI
+    XH))))))) :: []))))), (((Zpos (XI (XI (XO (XO (XO (XI XH))))))) :: ((Zpos
+    (XO (XO (XI (XI (XO (XI XH))))))) :: ((Zpos (XI (XI (XI (XI (XO (XI
+    XH))))))) :: ((Zpos (XI (XI (XO (XO (XI (XI XH))))))) :: ((Zpos (XI (XO
+    (XI (XO (XO (XI XH))))))) :: []))))) :: [])) :: ((((Zpos (XO (XO (XI (XO
+    (XI (XI XH))))))) :: ((Zpos (XI (XI (XI (XI (XO (XI XH))))))) :: ((Zpos
+    (XI (XI (XI (XO (XO (XI XH))))))) :: ((Zpos (XI (XI (XI (XO (XO (XI
+    XH))))))) :: ((Zpos (XO (XO (XI (XI (XO (XI XH))))))) :: ((Zpos (XI (XO
+    (XI (XO (XO (XI XH))))))) :: [])))))), (((Zpos (XO (XO (XI (XO (XI (XI
+    XH))))))) :: ((Zpos (XI (XI (XI (XI (XO (XI XH))))))) :: ((Zpos (XI (XI
+    (XI (XO (XO (XI XH))))))) :: ((Zpos (XI (XI (XI (XO (XO (XI
+    XH))))))) :: ((Zpos (XO (XO (XI (XI (XO (XI XH))))))) :: ((Zpos (XI (XO
+    (XI (XO (XO (XI XH))))))) :: [])))))) :: [])) :: ((((Zpos (XO (XO (XI (XO
+    (XO (XI XH))))))) :: ((Zpos (XI (XI (XI (XI (XO (XI XH))))))) :: ((Zpos
+    (XI (XI (XI (XO (XI (XI XH))))))) :: ((Zpos (XO (XI (XI (XI (XO (XI
+    XH))))))) :: [])))), (((Zpos (XO (XO (XI (XO (XO (XI XH))))))) :: ((Zpos
+    (XI (XI (XI (XI (XO (XI XH))))))) :: ((Zpos (XI (XI (XI (XO (XI (XI
+    XH))))))) :: ((Zpos (XO (XI (XI (XI (XO (XI
+    XH))))))) :: [])))) :: [])) :: ((((Zpos (XI (XO (XI (XO (XI (XI
+    XH))))))) :: ((Zpos (XO (XO (XO (XO (XI (XI XH))))))) :: [])), (((Zpos
+    (XI (XO (XI (XO (XI (XI XH))))))) :: ((Zpos (XO (XO (XO (XO (XI (XI
+    XH))))))) :: [])) :: [])) :: ((((Zpos (XO (XI (XI (XO (XO (XI
+    XH))))))) :: ((Zpos (XI (XO (XO (XI (XO (XI XH))))))) :: ((Zpos (XO (XI
+    (XO (XO (XI (XI XH))))))) :: ((Zpos (XI (XI (XO (XO (XI (XI
+    XH))))))) :: ((Zpos (XO (XO (XI (XO (XI (XI XH))))))) :: []))))), (((Zpos
+    (XO (XI (XI (XO (XO (XI XH))))))) :: ((Zpos (XI (XO (XO (XI (XO (XI
+    XH))))))) :: ((Zpos (XO (XI (XO (XO (XI (XI XH))))))) :: ((Zpos (XI (XI
+    (XO (XO (XI (XI XH))))))) :: ((Zpos (XO (XO (XI (XO (XI (XI
+    XH))))))) :: []))))) :: [])) :: ((((Zpos (XO (XO (XI (XO (XI (XI
+    XH))))))) :: ((Zpos (XI (XI (XI (XI (XO (XI XH))))))) :: ((Zpos (XO (XO
+    (XO (XO (XI (XI XH))))))) :: []))), (((Zpos (XO (XI (XI (XO (XO (XI
+    XH))))))) :: ((Zpos (XI (XO (XO (XI (XO (XI XH))))))) :: ((Zpos (XO (XI
+    (XO (XO (XI (XI XH))))))) :: ((Zpos (XI (XI (XO (XO (XI (XI
+    XH))))))) :: ((Zpos (XO (XO (XI (XO (XI (XI
+    XH))))))) :: []))))) :: [])) :: ((((Zpos (XO (XO (XI (XI (XO (XI
+    XH))))))) :: ((Zpos (XI (XO (XO (XO (XO (XI XH))))))) :: ((Zpos (XI (XI
+    (XO (XO (XI (XI XH))))))) :: ((Zpos (XO (XO (XI (XO (XI (XI
+    XH))))))) :: [])))), (((Zpos (XO (XO (XI (XI (XO (XI XH))))))) :: ((Zpos
+    (XI (XO (XO (XO (XO (XI XH))))))) :: ((Zpos (XI (XI (XO (XO (XI (XI
+    XH))))))) :: ((Zpos (XO (XO (XI (XO (XI (XI
+    XH))))))) :: [])))) :: [])) :: ((((Zpos (XO (XO (XO (XO (XI (XI
+    XH))))))) :: ((Zpos (XI (XO (XO (XO (XO (XI XH))))))) :: ((Zpos (XI (XI
+    (XI (XO (XO (XI XH))))))) :: ((Zpos (XI (XO (XI (XO (XO (XI
+    XH))))))) :: ((Zpos (XI (XO (XI (XI (XO XH)))))) :: ((Zpos (XI (XO (XI
+    (XO (XI (XI XH))))))) :: ((Zpos (XO (XO (XO (XO (XI (XI
+    XH))))))) :: []))))))), (((Zpos (XO (XO (XO (XO (XI (XI
+    XH))))))) :: ((Zpos (XI (XO (XO (XO (XO (XI XH))))))) :: ((Zpos (XI (XI
+    (XI (XO (XO (XI XH))))))) :: ((Zpos (XI (XO (XI (XO (XO (XI
+    XH))))))) :: ((Zpos (XI (XO (XI (XI (XO XH)))))) :: ((Zpos (XI (XO (XI
+    (XO (XI (XI XH))))))) :: ((Zpos (XO (XO (XO (XO (XI (XI
+    XH))))))) :: []))))))) :: [])) :: ((((Zpos (XO (XO (XO (XO (XI (XI
+    XH))))))) :: ((Zpos (XI (XO (XO (XO (XO (XI XH))))))) :: ((Zpos (XI (XI
+    (XI (XO (XO (XI XH))))))) :: ((Zpos (XI (XO (XI (XO (XO (XI
+    XH))))))) :: ((Zpos (XI (XO (XI (XI (XO XH)))))) :: ((Zpos (XO (XO (XI
+    (XO (XO (XI XH))))))) :: ((Zpos (XI (XI (XI (XI (XO (XI
+    XH))))))) :: ((Zpos (XI (XI (XI (XO (XI (XI XH))))))) :: ((Zpos (XO (XI
+    (XI (XI (XO (XI XH))))))) :: []))))))))), (((Zpos (XO (XO (XO (XO (XI (XI
+    XH))))))) :: ((Zpos (XI (XO (XO (XO (XO (XI XH))))))) :: ((Zpos (XI (XI
+    (XI (XO (XO (XI XH))))))) :: ((Zpos (XI (XO (XI (XO (XO (XI
+    XH))))))) :: ((Zpos (XI (XO (XI (XI (XO XH)))))) :: ((Zpos (XO (XO (XI
+    (XO (XO (XI XH))))))) :: ((Zpos (XI (XI (XI (XI (XO (XI
+    XH))))))) :: ((Zpos (XI (XI (XI (XO (XI (XI XH))))))) :: ((Zpos (XO (XI
+    (XI (XI (XO (XI XH))))))) :: []))))))))) :: [])) :: ((((Zpos (XO (XO (XO
+    (XI (XO (XI XH))))))) :: ((Zpos (XI (XO (XO (XO (XO (XI
+    XH))))))) :: ((Zpos (XO (XO (XI (XI (XO (XI XH))))))) :: ((Zpos (XO (XI
+    (XI (XO (XO (XI XH))))))) :: ((Zpos (XI (XO (XI (XI (XO
+    XH)))))) :: ((Zpos (XO (XO (XO (XO (XI (XI XH))))))) :: ((Zpos (XI (XO
+    (XO (XO (XO (XI XH))))))) :: ((Zpos (XI (XI (XI (XO (XO (XI
+    XH))))))) :: ((Zpos (XI (XO (XI (XO (XO (XI XH))))))) :: ((Zpos (XI (XO
+    (XI (XI (XO XH)))))) :: ((Zpos (XI (XO (XI (XO (XI (XI
+    XH))))))) :: ((Zpos (XO (XO (XO (XO (XI (XI XH))))))) :: [])))))))))))),
+    (((Zpos (XO (XO (XO (XI (XO (XI XH))))))) :: ((Zpos (XI (XO (XO (XO (XO
+    (XI XH))))))) :: ((Zpos (XO (XO (XI (XI (XO (XI XH))))))) :: ((Zpos (XO
+    (XI (XI (XO (XO (XI XH))))))) :: ((Zpos (XI (XO (XI (XI (XO
+    XH)))))) :: ((Zpos (XO (XO (XO (XO (XI (XI XH))))))) :: ((Zpos (XI (XO
+    (XO (XO (XO (XI XH))))))) :: ((Zpos (XI (XI (XI (XO (XO (XI
+    XH))))))) :: ((Zpos (XI (XO (XI (XO (XO (XI XH))))))) :: ((Zpos (XI (XO
+    (XI (XI (XO XH)))))) :: ((Zpos (XI (XO (XI (XO (XI (XI
+    XH))))))) :: ((Zpos (XO (XO (XO (XO (XI (XI
+    XH))))))) :: [])))))))))))) :: [])) :: ((((Zpos (XO (XO (XO (XI (XO (XI
+    XH))))))) :: ((Zpos (XI (XO (XO (XO (XO (XI XH))))))) :: ((Zpos (XO (XO
+    (XI (XI (XO (XI XH))))))) :: ((Zpos (XO (XI (XI (XO (XO (XI
+    XH))))))) :: ((Zpos (XI (XO (XI (XI (XO XH)))))) :: ((Zpos (XO (XO (XO
+    (XO (XI (XI XH))))))) :: ((Zpos (XI (XO (XO (XO (XO (XI
+    XH))))))) :: ((Zpos (XI (XI (XI (XO (XO (XI XH))))))) :: ((Zpos (XI (XO
+    (XI (XO (XO (XI XH))))))) :: ((Zpos (XI (XO (XI (XI (XO
+    XH)))))) :: ((Zpos (XO (XO (XI (XO (XO (XI XH))))))) :: ((Zpos (XI (XI
+    (XI (XI (XO (XI XH))))))) :: ((Zpos (XI (XI (XI (XO (XI (XI
+    XH))))))) :: ((Zpos (XO (XI (XI (XI (XO (XI
+    XH))))))) :: [])))))))))))))), (((Zpos (XO (XO (XO (XI (XO (XI
+    XH))))))) :: ((Zpos (XI (XO (XO (XO (XO (XI XH))))))) :: ((Zpos (XO (XO
+    (XI (XI (XO (XI XH))))))) :: ((Zpos (XO (XI (XI (XO (XO (XI
+    XH))))))) :: ((Zpos (XI (XO (XI (XI (XO XH)))))) :: ((Zpos (XO (XO (XO
+    (XO (XI (XI XH))))))) :: ((Zpos (XI (XO (XO (XO (XO (XI
+    XH))))))) :: ((Zpos (XI (XI (XI (XO (XO (XI XH))))))) :: ((Zpos (XI (XO
+    (XI (XO (XO (XI XH))))))) :: ((Zpos (XI (XO (XI (XI (XO
+    XH)))))) :: ((Zpos (XO (XO (XI (XO (XO (XI XH))))))) :: ((Zpos (XI (XI
+    (XI (XI (XO (XI XH))))))) :: ((Zpos (XI (XI (XI (XO (XI (XI
+    XH))))))) :: ((Zpos (XO (XI (XI (XI (XO (XI
+    XH))))))) :: [])))))))))))))) :: [])) :: ((((Zpos (XO (XO (XO (XO (XI (XI
+    XH))))))) :: ((Zpos (XO (XI (XO (XO (XI (XI XH))))))) :: ((Zpos (XI (XO
+    (XI (XO (XO (XI XH))))))) :: ((Zpos (XO (XI (XI (XO (XI (XI
+    XH))))))) :: ((Zpos (XI (XO (XI (XI (XO XH)))))) :: ((Zpos (XO (XO (XO
+    (XI (XO (XI XH))))))) :: ((Zpos (XI (XO (XO (XI (XO (XI
+    XH))))))) :: ((Zpos (XI (XI (XO (XO (XI (XI XH))))))) :: ((Zpos (XO (XO
+    (XI (XO (XI (XI XH))))))) :: ((Zpos (XI (XI (XI (XI (XO (XI
+    XH))))))) :: ((Zpos (XO (XI (XO (XO (XI (XI XH))))))) :: ((Zpos (XI (XO
+    (XO (XI (XI (XI XH))))))) :: [])))))))))))), (((Zpos (XO (XO (XO (XO (XI
+    (XI XH))))))) :: ((Zpos (XO (XI (XO (XO (XI (XI XH))))))) :: ((Zpos (XI
+    (XO (XI (XO (XO (XI XH))))))) :: ((Zpos (XO (XI (XI (XO (XI (XI
+    XH))))))) :: ((Zpos (XI (XO (XI (XI (XO XH)))))) :: ((Zpos (XO (XO (XO
+    (XI (XO (XI XH))))))) :: ((Zpos (XI (XO (XO (XI (XO (XI
+    XH))))))) :: ((Zpos (XI (XI (XO (XO (XI (XI XH))))))) :: ((Zpos (XO (XO
+    (XI (XO (XI (XI XH))))))) :: ((Zpos (XI (XI (XI (XI (XO (XI
+    XH))))))) :: ((Zpos (XO (XI (XO (XO (XI (XI XH))))))) :: ((Zpos (XI (XO
+    (XO (XI (XI (XI XH))))))) :: [])))))))))))) :: [])) :: ((((Zpos (XO (XO
+    (XO (XO (XI (XI XH))))))) :: ((Zpos (XO (XI (XO (XO (XI (XI
+    XH))))))) :: ((Zpos (XI (XO (XI (XO (XO (XI XH))))))) :: ((Zpos (XO (XI
+    (XI (XO (XI (XI XH))))))) :: ((Zpos (XI (XO (XO (XI (XO (XI
+    XH))))))) :: ((Zpos (XI (XI (XI (XI (XO (XI XH))))))) :: ((Zpos (XI (XO
+    (XI (XO (XI (XI XH))))))) :: ((Zpos (XI (XI (XO (XO (XI (XI
+    XH))))))) :: ((Zpos (XI (XO (XI (XI (XO XH)))))) :: ((Zpos (XO (XO (XO
+    (XI (XO (XI XH))))))) :: ((Zpos (XI (XO (XO (XI (XO (XI
+    XH))))))) :: ((Zpos (XI (XI (XO (XO (XI (XI XH))))))) :: ((Zpos (XO (XO
+    (XI (XO (XI (XI XH))))))) :: ((Zpos (XI (XI (XI (XI (XO (XI
+    XH))))))) :: ((Zpos (XO (XI (XO (XO (XI (XI XH))))))) :: ((Zpos (XI (XO
+    (XO (XI (XI (XI XH))))))) :: [])))))))))))))))), (((Zpos (XO (XO (XO (XO
+    (XI (XI XH))))))) :: ((Zpos (XO (XI (XO (XO (XI (XI XH))))))) :: ((Zpos
+    (XI (XO (XI (XO (XO (XI XH))))))) :: ((Zpos (XO (XI (XI (XO (XI (XI
+    XH))))))) :: ((Zpos (XI (XO (XI (XI (XO XH)))))) :: ((Zpos (XO (XO (XO
+    (XI (XO (XI XH))))))) :: ((Zpos (XI (XO (XO (XI (XO (XI
+    XH))))))) :: ((Zpos (XI (XI (XO (XO (XI (XI XH))))))) :: ((Zpos (XO (XO
+    (XI (XO (XI (XI XH))))))) :: ((Zpos (XI (XI (XI (XI (XO (XI
+    XH))))))) :: ((Zpos (XO (XI (XO (XO (XI (XI XH))))))) :: ((Zpos (XI (XO
+    (XO (XI (XI (XI XH))))))) :: [])))))))))))) :: [])) :: ((((Zpos (XO (XI
+    (XI (XI (XO (XI XH))))))) :: ((Zpos (XI (XO (XI (XO (XO (XI
+    XH))))))) :: ((Zpos (XO (XO (XO (XI (XI (XI XH))))))) :: ((Zpos (XO (XO
+    (XI (XO (XI (XI XH))))))) :: ((Zpos (XI (XO (XI (XI (XO
+    XH)))))) :: ((Zpos (XO (XO (XO (XI (XO (XI XH))))))) :: ((Zpos (XI (XO
+    (XO (XI (XO (XI XH))))))) :: ((Zpos (XI (XI (XO (XO (XI (XI
+    XH))))))) :: ((Zpos (XO (XO (XI (XO (XI (XI XH))))))) :: ((Zpos (XI (XI
+    (XI (XI (XO (XI XH))))))) :: ((Zpos (XO (XI (XO (XO (XI (XI
+    XH))))))) :: ((Zpos (XI (XO (XO (XI (XI (XI XH))))))) :: [])))))))))))),
+    (((Zpos (XO (XI (XI (XI (XO (XI XH))))))) :: ((Zpos (XI (XO (XI (XO (XO
+    (XI XH))))))) :: ((Zpos (XO (XO (XO (XI (XI (XI XH))))))) :: ((Zpos (XO
+    (XO (XI (XO (XI (XI XH))))))) :: ((Zpos (XI (XO (XI (XI (XO
+    XH)))))) :: ((Zpos (XO (XO (XO (XI (XO (XI XH))))))) :: ((Zpos (XI (XO
+    (XO (XI (XO (XI XH))))))) :: ((Zpos (XI (XI (XO (XO (XI (XI
+    XH))))))) :: ((Zpos (XO (XO (XI (XO (XI (XI XH))))))) :: ((Zpos (XI (XI
+    (XI (XI (XO (XI XH))))))) :: ((Zpos (XO (XI (XO (XO (XI (XI
+    XH))))))) :: ((Zpos (XI (XO (XO (XI (XI (XI
+    XH))))))) :: [])))))))))))) :: [])) :: ((((Zpos (XO (XO (XO (XO (XI (XI
+    XH))))))) :: ((Zpos (XO (XI (XO (XO (XI (XI XH))))))) :: ((Zpos (XI (XO
+    (XI (XO (XO (XI XH))))))) :: ((Zpos (XO (XI (XI (XO (XI (XI
+    XH))))))) :: ((Zpos (XI (XO (XI (XI (XO XH)))))) :: ((Zpos (XI (XI (XO
+    (XO (XI (XI XH))))))) :: ((Zpos (XI (XO (XI (XO (XO (XI
+    XH))))))) :: ((Zpos (XO (XO (XI (XI (XO (XI XH))))))) :: ((Zpos (XI (XO
+    (XI (XO (XO (XI XH))))))) :: ((Zpos (XI (XI (XO (XO (XO (XI
+    XH))))))) :: ((Zpos (XO (XO (XI (XO (XI (XI XH))))))) :: ((Zpos (XI (XO
+    (XI (XO (XO (XI XH))))))) :: ((Zpos (XO (XO (XI (XO (XO (XI
+    XH))))))) :: []))))))))))))), (((Zpos (XO (XO (XO (XO (XI (XI
+    XH))))))) :: ((Zpos (XO (XI (XO (XO (XI (XI XH))))))) :: ((Zpos (XI (XO
+    (XI (XO (XO (XI XH))))))) :: ((Zpos (XO (XI (XI (XO (XI (XI
+    XH))))))) :: ((Zpos (XI (XO (XI (XI (XO XH)))))) :: ((Zpos (XI (XI (XO
+    (XO (XI (XI XH))))))) :: ((Zpos (XI (XO (XI (XO (XO (XI
+    XH))))))) :: ((Zpos (XO (XO (XI (XI (XO (XI XH))))))) :: ((Zpos (XI (XO
+    (XI (XO (XO (XI XH))))))) :: ((Zpos (XI (XI (XO (XO (XO (XI
+    XH))))))) :: ((Zpos (XO (XO (XI (XO (XI (XI XH))))))) :: ((Zpos (XI (XO
+    (XI (XO (XO (XI XH))))))) :: ((Zpos (XO (XO (XI (XO (XO (XI
+    XH))))))) :: []))))))))))))) :: [])) :: ((((Zpos (XO (XI (XI (XI (XO (XI
+    XH))))))) :: ((Zpos (XI (XO (XI (XO (XO (XI XH))))))) :: ((Zpos (XO (XO
+    (XO (XI (XI (XI XH))))))) :: ((Zpos (XO (XO (XI (XO (XI (XI
+    XH))))))) :: ((Zpos (XI (XO (XI (XI (XO XH)))))) :: ((Zpos (XI (XI (XO
+    (XO (XI (XI XH))))))) :: ((Zpos (XI (XO (XI (XO (XO (XI
+    XH))))))) :: ((Zpos (XO (XO (XI (XI (XO (XI XH))))))) :: ((Zpos (XI (XO
+    (XI (XO (XO (XI XH))))))) :: ((Zpos (XI (XI (XO (XO (XO (XI
+    XH))))))) :: ((Zpos (XO (XO (XI (XO (XI (XI XH))))))) :: ((Zpos (XI (XO
+    (XI (XO (XO (XI XH))))))) :: ((Zpos (XO (XO (XI (XO (XO (XI
+    XH))))))) :: []))))))))))))), (((Zpos (XO (XI (XI (XI (XO (XI
+    XH))))))) :: ((Zpos (XI (XO (XI (XO (XO (XI XH))))))) :: ((Zpos (XO (XO
+    (XO (XI (XI (XI XH))))))) :: ((Zpos (XO (XO (XI (XO (XI (XI
+    XH))))))) :: ((Zpos (XI (XO (XI (XI (XO XH)))))) :: ((Zpos (XI (XI (XO
+    (XO (XI (XI XH))))))) :: ((Zpos (XI (XO (XI (XO (XO (XI
+    XH))))))) :: ((Zpos (XO (XO (XI (XI (XO (XI XH))))))) :: ((Zpos (XI (XO
+    (XI (XO (XO (XI XH))))))) :: ((Zpos (XI (XI (XO (XO (XO (XI
+    XH))))))) :: ((Zpos (XO (XO (XI (XO (XI (XI XH))))))) :: ((Zpos (XI (XO
+    (XI (XO (XO (XI XH))))))) :: ((Zpos (XO (XO (XI (XO (XO (XI
+    XH))))))) :: []))))))))))))) :: [])) :: ((((Zpos (XI (XI (XO (XO (XI (XI
+    XH))))))) :: ((Zpos (XO (XO (XO (XI (XO (XI XH))))))) :: ((Zpos (XI (XI
+    (XI (XI (XO (XI XH))))))) :: ((Zpos (XI (XI (XI (XO (XI (XI
+    XH))))))) :: ((Zpos (XI (XO (XI (XI (XO XH)))))) :: ((Zpos (XO (XO (XO
+    (XO (XI (XI XH))))))) :: ((Zpos (XO (XI (XO (XO (XI (XI
+    XH))))))) :: ((Zpos (XI (XO (XI (XO (XO (XI XH))))))) :: ((Zpos (XO (XI
+    (XI (XO (XI (XI XH))))))) :: ((Zpos (XI (XO (XO (XI (XO (XI
+    XH))))))) :: ((Zpos (XI (XO (XI (XO (XO (XI XH))))))) :: ((Zpos (XI (XI
+    (XI (XO (XI (XI XH))))))) :: [])))))))))))), (((Zpos (XI (XI (XO (XO (XI
+    (XI XH))))))) :: ((Zpos (XO (XO (XO (XI (XO (XI XH))))))) :: ((Zpos (XI
+    (XI (XI (XI (XO (XI XH))))))) :: ((Zpos (XI (XI (XI (XO (XI (XI
+    XH))))))) :: ((Zpos (XI (XO (XI (XI (XO XH)))))) :: ((Zpos (XO (XO (XO
+    (XO (XI (XI XH))))))) :: ((Zpos (XO (XI (XO (XO (XI (XI
+    XH))))))) :: ((Zpos (XI (XO (XI (XO (XO (XI XH))))))) :: ((Zpos (XO (XI
+    (XI (XO (XI (XI XH))))))) :: ((Zpos (XI (XO (XO (XI (XO (XI
+    XH))))))) :: ((Zpos (XI (XO (XI (XO (XO (XI XH))))))) :: ((Zpos (XI (XI
+    (XI (XO (XI (XI XH))))))) :: [])))))))))))) :: [])) :: ((((Zpos (XO (XO
+    (XO (XI (XO (XI XH))))))) :: ((Zpos (XI (XO (XO (XI (XO (XI
+    XH))))))) :: ((Zpos (XO (XO (XI (XO (XO (XI XH))))))) :: ((Zpos (XI (XO
+    (XI (XO (XO (XI XH))))))) :: ((Zpos (XI (XO (XI (XI (XO
+    XH)))))) :: ((Zpos (XO (XO (XO (XO (XI (XI XH))))))) :: ((Zpos (XO (XI
+    (XO (XO (XI (XI XH))))))) :: ((Zpos (XI (XO (XI (XO (XO (XI
+    XH))))))) :: ((Zpos (XO (XI (XI (XO (XI (XI XH))))))) :: ((Zpos (XI (XO
+    (XO (XI (XO (XI XH))))))) :: ((Zpos (XI (XO (XI (XO (XO (XI
+    XH))))))) :: ((Zpos (XI (XI (XI (XO (XI (XI XH))))))) :: [])))))))))))),
+    (((Zpos (XO (XO (XO (XI (XO (XI XH))))))) :: ((Zpos (XI (XO (XO (XI (XO
+    (XI XH))))))) :: ((Zpos (XO (XO (XI (XO (XO (XI XH))))))) :: ((Zpos (XI
+    (XO (XI (XO (XO (XI XH))))))) :: ((Zpos (XI (XO (XI (XI (XO
+    XH)))))) :: ((Zpos (XO (XO (XO (XO (XI (XI XH))))))) :: ((Zpos (XO (XI
+    (XO (XO (XI (XI XH))))))) :: ((Zpos (XI (XO (XI (XO (XO (XI
+    XH))))))) :: ((Zpos (XO (XI (XI (XO (XI (XI XH))))))) :: ((Zpos (XI (XO
+    (XO (XI (XO (XI XH))))))) :: ((Zpos (XI (XO (XI (XO (XO (XI
+    XH))))))) :: ((Zpos (XI (XI (XI (XO (XI (XI
+    XH))))))) :: [])))))))))))) :: [])) :: ((((Zpos (XO (XO (XI (XO (XI (XI
+    XH))))))) :: ((Zpos (XI (XI (XI (XI (XO (XI XH))))))) :: ((Zpos (XI (XI
+    (XI (XO (XO (XI XH))))))) :: ((Zpos (XI (XI (XI (XO (XO (XI
+    XH))))))) :: ((Zpos (XO (XO (XI (XI (XO (XI XH))))))) :: ((Zpos (XI (XO
+    (XI (XO (XO (XI XH))))))) :: ((Zpos (XI (XO (XI (XI (XO
+    XH)))))) :: ((Zpos (XO (XO (XO (XO (XI (XI XH))))))) :: ((Zpos (XO (XI
+    (XO (XO (XI (XI XH))))))) :: ((Zpos (XI (XO (XI (XO (XO (XI
+    XH))))))) :: ((Zpos (XO (XI (XI (XO (XI (XI XH))))))) :: ((Zpos (XI (XO
+    (XO (XI (XO (XI XH))))))) :: ((Zpos (XI (XO (XI (XO (XO (XI
+    XH))))))) :: ((Zpos (XI (XI (XI (XO (XI (XI
+    XH))))))) :: [])))))))))))))), (((Zpos (XO (XO (XI (XO (XI (XI
+    XH))))))) :: ((Zpos (XI (XI (XI (XI (XO (XI XH))))))) :: ((Zpos (XI (XI
+    (XI (XO (XO (XI XH))))))) :: ((Zpos (XI (XI (XI (XO (XO (XI
+    XH))))))) :: ((Zpos (XO (XO (XI (XI (XO (XI XH))))))) :: ((Zpos (XI (XO
+    (XI (XO (XO (XI XH))))))) :: ((Zpos (XI (XO (XI (XI (XO
+    XH)))))) :: ((Zpos (XO (XO (XO (XO (XI (XI XH))))))) :: ((Zpos (XO (XI
+    (XO (XO (XI (XI XH))))))) :: ((Zpos (XI (XO (XI (XO (XO (XI
+    XH))))))) :: ((Zpos (XO (XI (XI (XO (XI (XI XH))))))) :: ((Zpos (XI (XO
+    (XO (XI (XO (XI XH))))))) :: ((Zpos (XI (XO (XI (XO (XO (XI
+    XH))))))) :: ((Zpos (XI (XI (XI (XO (XI (XI
+    XH))))))) :: [])))))))))))))) :: [])) :: ((((Zpos (XO (XO (XI (XO (XI (XI
+    XH))))))) :: ((Zpos (XI (XI (XI (XI (XO (XI XH))))))) :: ((Zpos (XI (XI
+    (XI (XO (XO (XI XH))))))) :: ((Zpos (XI (XI (XI (XO (XO (XI
+    XH))))))) :: ((Zpos (XO (XO (XI (XI (XO (XI XH))))))) :: ((Zpos (XI (XO
+    (XI (XO (XO (XI XH))))))) :: ((Zpos (XI (XO (XI (XI (XO
+    XH)))))) :: ((Zpos (XO (XO (XO (XO (XI (XI XH))))))) :: ((Zpos (XO (XI
+    (XO (XO (XI (XI XH))))))) :: ((Zpos (XI (XO (XI (XO (XO (XI
+    XH))))))) :: ((Zpos (XO (XI (XI (XO (XI (XI XH))))))) :: ((Zpos (XI (XO
+    (XO (XI (XO (XI XH))))))) :: ((Zpos (XI (XO (XI (XO (XO (XI
+    XH))))))) :: ((Zpos (XI (XI (XI (XO (XI (XI XH))))))) :: ((Zpos (XI (XO
+    (XI (XI (XO XH)))))) :: ((Zpos (XI (XI (XI (XO (XI (XI
+    XH))))))) :: ((Zpos (XO (XI (XO (XO (XI (XI XH))))))) :: ((Zpos (XI (XO
+    (XO (XO (XO (XI XH))))))) :: ((Zpos (XO (XO (XO (XO (XI (XI
+    XH))))))) :: []))))))))))))))))))), (((Zpos (XO (XO (XI (XO (XI (XI
+    XH))))))) :: ((Zpos (XI (XI (XI (XI (XO (XI XH))))))) :: ((Zpos (XI (XI
+    (XI (XO (XO (XI XH))))))) :: ((Zpos (XI (XI (XI (XO (XO (XI
+    XH))))))) :: ((Zpos (XO (XO (XI (XI (XO (XI XH))))))) :: ((Zpos (XI (XO
+    (XI (XO (XO (XI XH))))))) :: ((Zpos (XI (XO (XI (XI (XO
+    XH)))))) :: ((Zpos (XO (XO (XO (XO (XI (XI XH))))))) :: ((Zpos (XO (XI
+    (XO (XO (XI (XI XH))))))) :: ((Zpos (XI (XO (XI (XO (XO (XI
+    XH))))))) :: ((Zpos (XO (XI (XI (XO (XI (XI XH))))))) :: ((Zpos (XI (XO
+    (XO (XI (XO (XI XH))))))) :: ((Zpos (XI (XO (XI (XO (XO (XI
+    XH))))))) :: ((Zpos (XI (XI (XI (XO (XI (XI XH))))))) :: ((Zpos (XI (XO
+    (XI (XI (XO XH)))))) :: ((Zpos (XI (XI (XI (XO (XI (XI
+    XH))))))) :: ((Zpos (XO (XI (XO (XO (XI (XI XH))))))) :: ((Zpos (XI (XO
+    (XO (XO (XO (XI XH))))))) :: ((Zpos (XO (XO (XO (XO (XI (XI
+    XH))))))) :: []))))))))))))))))))) :: [])) :: ((((Zpos (XO (XO (XI (XO
+    (XI (XI XH))))))) :: ((Zpos (XI (XI (XI (XI (XO (XI XH))))))) :: ((Zpos
+    (XI (XI (XI (XO (XO (XI XH))))))) :: ((Zpos (XI (XI (XI (XO (XO (XI
+    XH))))))) :: ((Zpos (XO (XO (XI (XI (XO (XI XH))))))) :: ((Zpos (XI (XO
+    (XI (XO (XO (XI XH))))))) :: ((Zpos (XI (XO (XI (XI (XO
+    XH)))))) :: ((Zpos (XI (XI (XO (XO (XI (XI XH))))))) :: ((Zpos (XI (XI
+    (XI (XI (XO (XI XH))))))) :: ((Zpos (XO (XI (XO (XO (XI (XI
+    XH))))))) :: ((Zpos (XO (XO (XI (XO (XI (XI XH))))))) :: []))))))))))),
+    (((Zpos (XO (XO (XI (XO (XI (XI XH))))))) :: ((Zpos (XI (XI (XI (XI (XO
+    (XI XH))))))) :: ((Zpos (XI (XI (XI (XO (XO (XI XH))))))) :: ((Zpos (XI
+    (XI (XI (XO (XO (XI XH))))))) :: ((Zpos (XO (XO (XI (XI (XO (XI
+    XH))))))) :: ((Zpos (XI (XO (XI (XO (XO (XI XH))))))) :: ((Zpos (XI (XO
+    (XI (XI (XO XH)))))) :: ((Zpos (XI (XI (XO (XO (XI (XI
+    XH))))))) :: ((Zpos (XI (XI (XI (XI (XO (XI XH))))))) :: ((Zpos (XO (XI
+    (XO (XO (XI (XI XH))))))) :: ((Zpos (XO (XO (XI (XO (XI (XI
+    XH))))))) :: []))))))))))) :: [])) :: ((((Zpos (XI (XI (XI (XI (XO (XI
+    XH))))))) :: ((Zpos (XO (XI (XI (XO (XO (XI XH))))))) :: ((Zpos (XO (XI
+    (XI (XO (XO (XI XH))))))) :: ((Zpos (XI (XI (XO (XO (XI (XI
+    XH))))))) :: ((Zpos (XI (XO (XI (XO (XO (XI XH))))))) :: ((Zpos (XO (XO
+    (XI (XO (XI (XI XH))))))) :: ((Zpos (XI (XO (XI (XI (XO
+    XH)))))) :: ((Zpos (XI (XO (XI (XO (XI (XI XH))))))) :: ((Zpos (XO (XO
+    (XO (XO (XI (XI XH))))))) :: []))))))))), (((Zpos (XI (XI (XI (XI (XO (XI
+    XH))))))) :: ((Zpos (XO (XI (XI (XO (XO (XI XH))))))) :: ((Zpos (XO (XI
+    (XI (XO (XO (XI XH))))))) :: ((Zpos (XI (XI (XO (XO (XI (XI
+    XH))))))) :: ((Zpos (XI (XO (XI (XO (XO (XI XH))))))) :: ((Zpos (XO (XO
+    (XI (XO (XI (XI XH))))))) :: ((Zpos (XI (XO (XI (XI (XO
+    XH)))))) :: ((Zpos (XI (XO (XI (XO (XI (XI XH))))))) :: ((Zpos (XO (XO
+    (XO (XO (XI (XI XH))))))) :: []))))))))) :: [])) :: ((((Zpos (XI (XI (XI
+    (XI (XO (XI XH))))))) :: ((Zpos (XO (XI (XI (XO (XO (XI
+    XH))))))) :: ((Zpos (XO (XI (XI (XO (XO (XI XH))))))) :: ((Zpos (XI (XI
+    (XO (XO (XI (XI XH))))))) :: ((Zpos (XI (XO (XI (XO (XO (XI
+    XH))))))) :: ((Zpos (XO (XO (XI (XO (XI (XI XH))))))) :: ((Zpos (XI (XO
+    (XI (XI (XO XH)))))) :: ((Zpos (XO (XO (XI (XO (XO (XI
+    XH))))))) :: ((Zpos (XI (XI (XI (XI (XO (XI XH))))))) :: ((Zpos (XI (XI
+    (XI (XO (XI (XI XH))))))) :: ((Zpos (XO (XI (XI (XI (XO (XI
+    XH))))))) :: []))))))))))), (((Zpos (XI (XI (XI (XI (XO (XI
+    XH))))))) :: ((Zpos (XO (XI (XI (XO (XO (XI XH))))))) :: ((Zpos (XO (XI
+    (XI (XO (XO (XI XH))))))) :: ((Zpos (XI (XI (XO (XO (XI (XI
+    XH))))))) :: ((Zpos (XI (XO (XI (XO (XO (XI XH))))))) :: ((Zpos (XO (XO
+    (XI (XO (XI (XI XH))))))) :: ((Zpos (XI (XO (XI (XI (XO
+    XH)))))) :: ((Zpos (XO (XO (XI (XO (XO (XI XH))))))) :: ((Zpos (XI (XI
+    (XI (XI (XO (XI XH))))))) :: ((Zpos (XI (XI (XI (XO (XI (XI
+    XH))))))) :: ((Zpos (XO (XI (XI (XI (XO (XI
+    XH))))))) :: []))))))))))) :: [])) :: ((((Zpos (XI (XI (XI (XI (XO (XI
+    XH))))))) :: ((Zpos (XO (XI (XI (XO (XO (XI XH))))))) :: ((Zpos (XO (XI
+    (XI (XO (XO (XI XH))))))) :: ((Zpos (XI (XI (XO (XO (XI (XI
+    XH))))))) :: ((Zpos (XI (XO (XI (XO (XO (XI XH))))))) :: ((Zpos (XO (XO
+    (XI (XO (XI (XI XH))))))) :: ((Zpos (XI (XO (XI (XI (XO
+    XH)))))) :: ((Zpos (XI (XO (XI (XI (XO (XI XH))))))) :: ((Zpos (XI (XO
+    (XO (XI (XO (XI XH))))))) :: ((Zpos (XO (XO (XI (XO (XO (XI
+    XH))))))) :: ((Zpos (XO (XO (XI (XO (XO (XI XH))))))) :: ((Zpos (XO (XO
+    (XI (XI (XO (XI XH))))))) :: ((Zpos (XI (XO (XI (XO (XO (XI
+    XH))))))) :: []))))))))))))), (((Zpos (XI (XI (XI (XI (XO (XI
+    XH))))))) :: ((Zpos (XO (XI (XI (XO (XO (XI XH))))))) :: ((Zpos (XO (XI
+    (XI (XO (XO (XI XH))))))) :: ((Zpos (XI (XI (XO (XO (XI (XI
+    XH))))))) :: ((Zpos (XI (XO (XI (XO (XO (XI XH))))))) :: ((Zpos (XO (XO
+    (XI (XO (XI (XI XH))))))) :: ((Zpos (XI (XO (XI (XI (XO
+    XH)))))) :: ((Zpos (XI (XO (XI (XI (XO (XI XH))))))) :: ((Zpos (XI (XO
+    (XO (XI (XO (XI XH))))))) :: ((Zpos (XO (XO (XI (XO (XO (XI
+    XH))))))) :: ((Zpos (XO (XO (XI (XO (XO (XI XH))))))) :: ((Zpos (XO (XO
+    (XI (XI (XO (XI XH))))))) :: ((Zpos (XI (XO (XI (XO (XO (XI
+    XH))))))) :: []))))))))))))) :: [])) :: ((((Zpos (XO (XO (XO (XO (XI (XI
+    XH))))))) :: ((Zpos (XO (XI (XO (XO (XI (XI XH))))))) :: ((Zpos (XI (XO
+    (XI (XO (XO (XI XH))))))) :: ((Zpos (XO (XI (XI (XO (XI (XI
+    XH))))))) :: ((Zpos (XI (XO (XO (XI (XO (XI XH))))))) :: ((Zpos (XI (XO
+    (XI (XO (XO (XI XH))))))) :: ((Zpos (XI (XI (XI (XO (XI (XI
+    XH))))))) :: ((Zpos (XI (XO (XI (XI (XO XH)))))) :: ((Zpos (XO (XO (XI
+    (XO (XI (XI XH))))))) :: ((Zpos (XI (XI (XI (XI (XO (XI
+    XH))))))) :: ((Zpos (XO (XO (XO (XO (XI (XI XH))))))) :: []))))))))))),
+    (((Zpos (XO (XO (XO (XO (XI (XI XH))))))) :: ((Zpos (XO (XI (XO (XO (XI
+    (XI XH))))))) :: ((Zpos (XI (XO (XI (XO (XO (XI XH))))))) :: ((Zpos (XO
+    (XI (XI (XO (XI (XI XH))))))) :: ((Zpos (XI (XO (XO (XI (XO (XI
+    XH))))))) :: ((Zpos (XI (XO (XI (XO (XO (XI XH))))))) :: ((Zpos (XI (XI
+    (XI (XO (XI (XI XH))))))) :: ((Zpos (XI (XO (XI (XI (XO
+    XH)))))) :: ((Zpos (XO (XO (XI (XO (XI (XI XH))))))) :: ((Zpos (XI (XI
+    (XI (XI (XO (XI XH))))))) :: ((Zpos (XO (XO (XO (XO (XI (XI
+    XH))))))) :: []))))))))))) :: [])) :: ((((Zpos (XO (XO (XO (XO (XI (XI
+    XH))))))) :: ((Zpos (XO (XI (XO (XO (XI (XI XH))))))) :: ((Zpos (XI (XO
+    (XI (XO (XO (XI XH))))))) :: ((Zpos (XO (XI (XI (XO (XI (XI
+    XH))))))) :: ((Zpos (XI (XO (XO (XI (XO (XI XH))))))) :: ((Zpos (XI (XO
+    (XI (XO (XO (XI XH))))))) :: ((Zpos (XI (XI (XI (XO (XI (XI
+    XH))))))) :: ((Zpos (XI (XO (XI (XI (XO XH)))))) :: ((Zpos (XO (XI (XO
+    (XO (XO (XI XH))))))) :: ((Zpos (XI (XI (XI (XI (XO (XI
+    XH))))))) :: ((Zpos (XO (XO (XI (XO (XI (XI XH))))))) :: ((Zpos (XO (XO
+    (XI (XO (XI (XI XH))))))) :: ((Zpos (XI (XI (XI (XI (XO (XI
+    XH))))))) :: ((Zpos (XI (XO (XI (XI (XO (XI
+    XH))))))) :: [])))))))))))))), (((Zpos (XO (XO (XO (XO (XI (XI
+    XH))))))) :: ((Zpos (XO (XI (XO (XO (XI (XI XH))))))) :: ((Zpos (XI (XO
+    (XI (XO (XO (XI XH))))))) :: ((Zpos (XO (XI (XI (XO (XI (XI
+    XH))))))) :: ((Zpos (XI (XO (XO (XI (XO (XI XH))))))) :: ((Zpos (XI (XO
+    (XI (XO (XO (XI XH))))))) :: ((Zpos (XI (XI (XI (XO (XI (XI
+    XH))))))) :: ((Zpos (XI (XO (XI (XI (XO XH)))))) :: ((Zpos (XO (XI (XO
+    (XO (XO (XI XH))))))) :: ((Zpos (XI (XI (XI (XI (XO (XI
+    XH))))))) :: ((Zpos (XO (XO (XI (XO (XI (XI XH))))))) :: ((Zpos (XO (XO
+    (XI (XO (XI (XI XH))))))) :: ((Zpos (XI (XI (XI (XI (XO (XI
+    XH))))))) :: ((Zpos (XI (XO (XI (XI (XO (XI
+    XH))))))) :: [])))))))))))))) :: [])) :: ((((Zpos (XO (XO (XO (XO (XI (XI
+    XH))))))) :: ((Zpos (XO (XI (XO (XO (XI (XI XH))))))) :: ((Zpos (XI (XO
+    (XI (XO (XO (XI XH))))))) :: ((Zpos (XO (XI (XI (XO (XI (XI
+    XH))))))) :: ((Zpos (XI (XO (XO (XI (XO (XI XH))))))) :: ((Zpos (XI (XO
+    (XI (XO (XO (XI XH))))))) :: ((Zpos (XI (XI (XI (XO (XI (XI
+    XH))))))) :: ((Zpos (XI (XO (XI (XI (XO XH)))))) :: ((Zpos (XI (XO (XI
+    (XO (XI (XI XH))))))) :: ((Zpos (XO (XO (XO (XO (XI (XI
+    XH))))))) :: [])))))))))), (((Zpos (XO (XO (XO (XO (XI (XI
+    XH))))))) :: ((Zpos (XO (XI (XO (XO (XI (XI XH))))))) :: ((Zpos (XI (XO
+    (XI (XO (XO (XI XH))))))) :: ((Zpos (XO (XI (XI (XO (XI (XI
+    XH))))))) :: ((Zpos (XI (XO (XO (XI (XO (XI XH))))))) :: ((Zpos (XI (XO
+    (XI (XO (XO (XI XH))))))) :: ((Zpos (XI (XI (XI (XO (XI (XI
+    XH))))))) :: ((Zpos (XI (XO (XI (XI (XO XH)))))) :: ((Zpos (XI (XO (XI
+    (XO (XI (XI XH))))))) :: ((Zpos (XO (XO (XO (XO (XI (XI
+    XH))))))) :: [])))))))))) :: [])) :: ((((Zpos (XO (XO (XO (XO (XI (XI
+    XH))))))) :: ((Zpos (XO (XI (XO (XO (XI (XI XH))))))) :: ((Zpos (XI (XO
+    (XI (XO (XO (XI XH))))))) :: ((Zpos (XO (XI (XI (XO (XI (XI
+    XH))))))) :: ((Zpos (XI (XO (XO (XI (XO (XI XH))))))) :: ((Zpos (XI (XO
+    (XI (XO (XO (XI XH))))))) :: ((Zpos (XI (XI (XI (XO (XI (XI
+    XH))))))) :: ((Zpos (XI (XO (XI (XI (XO XH)))))) :: ((Zpos (XO (XO (XI
+    (XO (XO (XI XH))))))) :: ((Zpos (XI (XI (XI (XI (XO (XI
+    XH))))))) :: ((Zpos (XI (XI (XI (XO (XI (XI XH))))))) :: ((Zpos (XO (XI
+    (XI (XI (XO (XI XH))))))) :: [])))))))))))), (((Zpos (XO (XO (XO (XO (XI
+    (XI XH))))))) :: ((Zpos (XO (XI (XO (XO (XI (XI XH))))))) :: ((Zpos (XI
+    (XO (XI (XO (XO (XI XH))))))) :: ((Zpos (XO (XI (XI (XO (XI (XI
+    XH))))))) :: ((Zpos (XI (XO (XO (XI (XO (XI XH))))))) :: ((Zpos (XI (XO
+    (XI (XO (XO (XI XH))))))) :: ((Zpos (XI (XI (XI (XO (XI (XI
+    XH))))))) :: ((Zpos (XI (XO (XI (XI (XO XH)))))) :: ((Zpos (XO (XO (XI
+    (XO (XO (XI XH))))))) :: ((Zpos (XI (XI (XI (XI (XO (XI
+    XH))))))) :: ((Zpos (XI (XI (XI (XO (XI (XI XH))))))) :: ((Zpos (XO (XI
+    (XI (XI (XO (XI XH))))))) :: [])))))))))))) :: [])) :: ((((Zpos (XO (XO
+    (XO (XO (XI (XI XH))))))) :: ((Zpos (XO (XI (XO (XO (XI (XI
+    XH))))))) :: ((Zpos (XI (XO (XI (XO (XO (XI XH))))))) :: ((Zpos (XO (XI
+    (XI (XO (XI (XI XH))))))) :: ((Zpos (XI (XO (XO (XI (XO (XI
+    XH))))))) :: ((Zpos (XI (XO (XI (XO (XO (XI XH))))))) :: ((Zpos (XI (XI
+    (XI (XO (XI (XI XH))))))) :: ((Zpos (XI (XO (XI (XI (XO
+    XH)))))) :: ((Zpos (XO (XO (XO (XO (XI (XI XH))))))) :: ((Zpos (XI (XO
+    (XO (XO (XO (XI XH))))))) :: ((Zpos (XI (XI (XI (XO (XO (XI
+    XH))))))) :: ((Zpos (XI (XO (XI (XO (XO (XI XH))))))) :: ((Zpos (XI (XO
+    (XI (XI (XO XH)))))) :: ((Zpos (XI (XO (XI (XO (XI (XI
+    XH))))))) :: ((Zpos (XO (XO (XO (XO (XI (XI
+    XH))))))) :: []))))))))))))))), (((Zpos (XO (XO (XO (XO (XI (XI
+    XH))))))) :: ((Zpos (XO (XI (XO (XO (XI (XI XH))))))) :: ((Zpos (XI (XO
+    (XI (XO (XO (XI XH))))))) :: ((Zpos (XO (XI (XI (XO (XI (XI
+    XH))))))) :: ((Zpos (XI (XO (XO (XI (XO (XI XH))))))) :: ((Zpos (XI (XO
+    (XI (XO (XO (XI XH))))))) :: ((Zpos (XI (XI (XI (XO (XI (XI
+    XH))))))) :: ((Zpos (XI (XO (XI (XI (XO XH)))))) :: ((Zpos (XO (XO (XO
+    (XO (XI (XI XH))))))) :: ((Zpos (XI (XO (XO (XO (XO (XI
+    XH))))))) :: ((Zpos (XI (XI (XI (XO (XO (XI XH))))))) :: ((Zpos (XI (XO
+    (XI (XO (XO (XI XH))))))) :: ((Zpos (XI (XO (XI (XI (XO
+    XH)))))) :: ((Zpos (XI (XO (XI (XO (XI (XI XH))))))) :: ((Zpos (XO (XO
+    (XO (XO (XI (XI XH))))))) :: []))))))))))))))) :: [])) :: ((((Zpos (XO
+    (XO (XO (XO (XI (XI XH))))))) :: ((Zpos (XO (XI (XO (XO (XI (XI
+    XH))))))) :: ((Zpos (XI (XO (XI (XO (XO (XI XH))))))) :: ((Zpos (XO (XI
+    (XI (XO (XI (XI XH))))))) :: ((Zpos (XI (XO (XO (XI (XO (XI
+    XH))))))) :: ((Zpos (XI (XO (XI (XO (XO (XI XH))))))) :: ((Zpos (XI (XI
+    (XI (XO (XI (XI XH))))))) :: ((Zpos (XI (XO (XI (XI (XO
+    XH)))))) :: ((Zpos (XO (XO (XO (XO (XI (XI XH))))))) :: ((Zpos (XI (XO
+    (XO (XO (XO (XI XH))))))) :: ((Zpos (XI (XI (XI (XO (XO (XI
+    XH))))))) :: ((Zpos (XI (XO (XI (XO (XO (XI XH))))))) :: ((Zpos (XI (XO
+    (XI (XI (XO XH)))))) :: ((Zpos (XO (XO (XI (XO (XO (XI
+    XH))))))) :: ((Zpos (XI (XI (XI (XI (XO (XI XH))))))) :: ((Zpos (XI (XI
+    (XI (XO (XI (XI XH))))))) :: ((Zpos (XO (XI (XI (XI (XO (XI
+    XH))))))) :: []))))))))))))))))), (((Zpos (XO (XO (XO (XO (XI (XI
+    XH))))))) :: ((Zpos (XO (XI (XO (XO (XI (XI XH))))))) :: ((Zpos (XI (XO
+    (XI (XO (XO (XI XH))))))) :: ((Zpos (XO (XI (XI (XO (XI (XI
+    XH))))))) :: ((Zpos (XI (XO (XO (XI (XO (XI XH))))))) :: ((Zpos (XI (XO
+    (XI (XO (XO (XI XH))))))) :: ((Zpos (XI (XI (XI (XO (XI (XI
+    XH))))))) :: ((Zpos (XI (XO (XI (XI (XO XH)))))) :: ((Zpos (XO (XO (XO
+    (XO (XI (XI XH))))))) :: ((Zpos (XI (XO (XO (XO (XO (XI
+    XH))))))) :: ((Zpos (XI (XI (XI (XO (XO (XI XH))))))) :: ((Zpos (XI (XO
+    (XI (XO (XO (XI XH))))))) :: ((Zpos (XI (XO (XI (XI (XO
+    XH)))))) :: ((Zpos (XO (XO (XI (XO (XO (XI XH))))))) :: ((Zpos (XI (XI
+    (XI (XI (XO (XI XH))))))) :: ((Zpos (XI (XI (XI (XO (XI (XI
+    XH))))))) :: ((Zpos (XO (XI (XI (XI (XO (XI
+    XH))))))) :: []))))))))))))))))) :: [])) :: ((((Zpos (XO (XO (XO (XO (XI
+    (XI XH))))))) :: ((Zpos (XO (XI (XO (XO (XI (XI XH))))))) :: ((Zpos (XI
+    (XO (XI (XO (XO (XI XH))))))) :: ((Zpos (XO (XI (XI (XO (XI (XI
+    XH))))))) :: ((Zpos (XI (XO (XO (XI (XO (XI XH))))))) :: ((Zpos (XI (XO
+    (XI (XO (XO (XI XH))))))) :: ((Zpos (XI (XI (XI (XO (XI (XI
+    XH))))))) :: ((Zpos (XI (XO (XI (XI (XO XH)))))) :: ((Zpos (XO (XO (XO
+    (XI (XO (XI XH))))))) :: ((Zpos (XI (XO (XO (XO (XO (XI
+    XH))))))) :: ((Zpos (XO (XO (XI (XI (XO (XI XH))))))) :: ((Zpos (XO (XI
+    (XI (XO (XO (XI XH))))))) :: ((Zpos (XI (XO (XI (XI (XO
+    XH)))))) :: ((Zpos (XO (XO (XO (XO (XI (XI XH))))))) :: ((Zpos (XI (XO
+    (XO (XO (XO (XI XH))))))) :: ((Zpos (XI (XI (XI (XO (XO (XI
+    XH))))))) :: ((Zpos (XI (XO (XI (XO (XO (XI XH))))))) :: ((Zpos (XI (XO
+    (XI (XI (XO XH)))))) :: ((Zpos (XI (XO (XI (XO (XI (XI
+    XH))))))) :: ((Zpos (XO (XO (XO (XO (XI (XI
+    XH))))))) :: [])))))))))))))))))))), (((Zpos (XO (XO (XO (XO (XI (XI
+    XH))))))) :: ((Zpos (XO (XI (XO (XO (XI (XI XH))))))) :: ((Zpos (XI (XO
+    (XI (XO (XO (XI XH))))))) :: ((Zpos (XO (XI (XI (XO (XI (XI
+    XH))))))) :: ((Zpos (XI (XO (XO (XI (XO (XI XH))))))) :: ((Zpos (XI (XO
+    (XI (XO (XO (XI XH))))))) :: ((Zpos (XI (XI (XI (XO (XI (XI
+    XH))))))) :: ((Zpos (XI (XO (XI (XI (XO XH)))))) :: ((Zpos (XO (XO (XO
+    (XI (XO (XI XH))))))) :: ((Zpos (XI (XO (XO (XO (XO (XI
+    XH))))))) :: ((Zpos (XO (XO (XI (XI (XO (XI XH))))))) :: ((Zpos (XO (XI
+    (XI (XO (XO (XI XH))))))) :: ((Zpos (XI (XO (XI (XI (XO
+    XH)))))) :: ((Zpos (XO (XO (XO (XO (XI (XI XH))))))) :: ((Zpos (XI (XO
+    (XO (XO (XO (XI XH))))))) :: ((Zpos (XI (XI (XI (XO (XO (XI
+    XH))))))) :: ((Zpos (XI (XO (XI (XO (XO (XI XH))))))) :: ((Zpos (XI (XO
+    (XI (XI (XO XH)))))) :: ((Zpos (XI (XO (XI (XO (XI (XI
+    XH))))))) :: ((Zpos (XO (XO (XO (XO (XI (XI
+    XH))))))) :: [])))))))))))))))))))) :: [])) :: ((((Zpos (XO (XO (XO (XO
+    (XI (XI XH))))))) :: ((Zpos (XO (XI (XO (XO (XI (XI XH))))))) :: ((Zpos
+    (XI (XO (XI (XO (XO (XI XH))))))) :: ((Zpos (XO (XI (XI (XO (XI (XI
+    XH))))))) :: ((Zpos (XI (XO (XO (XI (XO (XI XH))))))) :: ((Zpos (XI (XO
+    (XI (XO (XO (XI XH))))))) :: ((Zpos (XI (XI (XI (XO (XI (XI
+    XH))))))) :: ((Zpos (XI (XO (XI (XI (XO XH)))))) :: ((Zpos (XO (XO (XO
+    (XI (XO (XI XH))))))) :: ((Zpos (XI (XO (XO (XO (XO (XI
+    XH))))))) :: ((Zpos (XO (XO (XI (XI (XO (XI XH))))))) :: ((Zpos (XO (XI
+    (XI (XO (XO (XI XH))))))) :: ((Zpos (XI (XO (XI (XI (XO
+    XH)))))) :: ((Zpos (XO (XO (XO (XO (XI (XI XH))))))) :: ((Zpos (XI (XO
+    (XO (XO (XO (XI XH))))))) :: ((Zpos (XI (XI (XI (XO (XO (XI
+    XH))))))) :: ((Zpos (XI (XO (XI (XO (XO (XI XH))))))) :: ((Zpos (XI (XO
+    (XI (XI (XO XH)))))) :: ((Zpos (XO (XO (XI (XO (XO (XI
+    XH))))))) :: ((Zpos (XI (XI (XI (XI (XO (XI XH))))))) :: ((Zpos (XI (XI
+    (XI (XO (XI (XI XH))))))) :: ((Zpos (XO (XI (XI (XI (XO (XI
+    XH))))))) :: [])))))))))))))))))))))), (((Zpos (XO (XO (XO (XO (XI (XI
+    XH))))))) :: ((Zpos (XO (XI (XO (XO (XI (XI XH))))))) :: ((Zpos (XI (XO
+    (XI (XO (XO (XI XH))))))) :: ((Zpos (XO (XI (XI (XO (XI (XI
+    XH))))))) :: ((Zpos (XI (XO (XO (XI (XO (XI XH))))))) :: ((Zpos (XI (XO
+    (XI (XO (XO (XI XH))))))) :: ((Zpos (XI (XI (XI (XO (XI (XI
+    XH))))))) :: ((Zpos (XI (XO (XI (XI (XO XH)))))) :: ((Zpos (XO (XO (XO
+    (XI (XO (XI XH))))))) :: ((Zpos (XI (XO (XO (XO (XO (XI
+    XH))))))) :: ((Zpos (XO (XO (XI (XI (XO (XI XH))))))) :: ((Zpos (XO (XI
+    (XI (XO (XO (XI XH))))))) :: ((Zpos (XI (XO (XI (XI (XO
+    XH)))))) :: ((Zpos (XO (XO (XO (XO (XI (XI XH))))))) :: ((Zpos (XI (XO
+    (XO (XO (XO (XI XH))))))) :: ((Zpos (XI (XI (XI (XO (XO (XI
+    XH))))))) :: ((Zpos (XI (XO (XI (XO (XO (XI XH))))))) :: ((Zpos (XI (XO
+    (XI (XI (XO XH)))))) :: ((Zpos (XO (XO (XI (XO (XO (XI
+    XH))))))) :: ((Zpos (XI (XI (XI (XI (XO (XI XH))))))) :: ((Zpos (XI (XI
+    (XI (XO (XI (XI XH))))))) :: ((Zpos (XO (XI (XI (XI (XO (XI
+    XH))))))) :: [])))))))))))))))))))))) :: [])) :: ((((Zpos (XI (XO (XI (XO
+    (XO (XI XH))))))) :: ((Zpos (XO (XI (XI (XI (XO (XI XH))))))) :: ((Zpos
+    (XI (XO (XO (XO (XO (XI XH))))))) :: ((Zpos (XO (XI (XO (XO (XO (XI
+    XH))))))) :: ((Zpos (XO (XO (XI (XI (XO (XI XH))))))) :: ((Zpos (XI (XO
+    (XI (XO (XO (XI XH))))))) :: ((Zpos (XI (XO (XI (XI (XO
+    XH)))))) :: ((Zpos (XI (XI (XO (XO (XI (XI XH))))))) :: ((Zpos (XI (XO
+    (XI (XO (XO (XI XH))))))) :: ((Zpos (XI (XO (XO (XO (XO (XI
+    XH))))))) :: ((Zpos (XO (XI (XO (XO (XI (XI XH))))))) :: ((Zpos (XI (XI
+    (XO (XO (XO (XI XH))))))) :: ((Zpos (XO (XO (XO (XI (XO (XI
+    XH))))))) :: []))))))))))))), (((Zpos (XI (XO (XI (XO (XO (XI
+    XH))))))) :: ((Zpos (XO (XI (XI (XI (XO (XI XH))))))) :: ((Zpos (XI (XO
+    (XO (XO (XO (XI XH))))))) :: ((Zpos (XO (XI (XO (XO (XO (XI
+    XH))))))) :: ((Zpos (XO (XO (XI (XI (XO (XI XH))))))) :: ((Zpos (XI (XO
+    (XI (XO (XO (XI XH))))))) :: ((Zpos (XI (XO (XI (XI (XO
+    XH)))))) :: ((Zpos (XI (XI (XO (XO (XI (XI XH))))))) :: ((Zpos (XI (XO
+    (XI (XO (XO (XI XH))))))) :: ((Zpos (XI (XO (XO (XO (XO (XI
+    XH))))))) :: ((Zpos (XO (XI (XO (XO (XI (XI XH))))))) :: ((Zpos (XI (XI
+    (XO (XO (XO (XI XH))))))) :: ((Zpos (XO (XO (XO (XI (XO (XI
+    XH))))))) :: []))))))))))))) :: [])) :: ((((Zpos (XO (XO (XI (XO (XO (XI
+    XH))))))) :: ((Zpos (XI (XO (XO (XI (XO (XI XH))))))) :: ((Zpos (XI (XI
+    (XO (XO (XI (XI XH))))))) :: ((Zpos (XI (XO (XO (XO (XO (XI
+    XH))))))) :: ((Zpos (XO (XI (XO (XO (XO (XI XH))))))) :: ((Zpos (XO (XO
+    (XI (XI (XO (XI XH))))))) :: ((Zpos (XI (XO (XI (XO (XO (XI
+    XH))))))) :: ((Zpos (XI (XO (XI (XI (XO XH)))))) :: ((Zpos (XI (XI (XO
+    (XO (XI (XI XH))))))) :: ((Zpos (XI (XO (XI (XO (XO (XI
+    XH))))))) :: ((Zpos (XI (XO (XO (XO (XO (XI XH))))))) :: ((Zpos (XO (XI
+    (XO (XO (XI (XI XH))))))) :: ((Zpos (XI (XI (XO (XO (XO (XI
+    XH))))))) :: ((Zpos (XO (XO (XO (XI (XO (XI
+    XH))))))) :: [])))))))))))))), (((Zpos (XO (XO (XI (XO (XO (XI
+    XH))))))) :: ((Zpos (XI (XO (XO (XI (XO (XI XH))))))) :: ((Zpos (XI (XI
+    (XO (XO (XI (XI XH))))))) :: ((Zpos (XI (XO (XO (XO (XO (XI
+    XH))))))) :: ((Zpos (XO (XI (XO (XO (XO (XI XH))))))) :: ((Zpos (XO (XO
+    (XI (XI (XO (XI XH))))))) :: ((Zpos (XI (XO (XI (XO (XO (XI
+    XH))))))) :: ((Zpos (XI (XO (XI (XI (XO XH)))))) :: ((Zpos (XI (XI (XO
+    (XO (XI (XI XH))))))) :: ((Zpos (XI (XO (XI (XO (XO (XI
+    XH))))))) :: ((Zpos (XI (XO (XO (XO (XO (XI XH))))))) :: ((Zpos (XO (XI
+    (XO (XO (XI (XI XH))))))) :: ((Zpos (XI (XI (XO (XO (XO (XI
+    XH))))))) :: ((Zpos (XO (XO (XO (XI (XO (XI
+    XH))))))) :: [])))))))))))))) :: [])) :: ((((Zpos (XO (XI (XO (XO (XO (XI
+    XH))))))) :: ((Zpos (XI (XO (XI (XO (XO (XI XH))))))) :: ((Zpos (XO (XO
+    (XI (XI (XO (XI XH))))))) :: ((Zpos (XO (XO (XI (XI (XO (XI
+    XH))))))) :: [])))), (((Zpos (XO (XI (XO (XO (XO (XI XH))))))) :: ((Zpos
+    (XI (XO (XI (XO (XO (XI XH))))))) :: ((Zpos (XO (XO (XI (XI (XO (XI
+    XH))))))) :: ((Zpos (XO (XO (XI (XI (XO (XI
+    XH))))))) :: [])))) :: [])) :: ((((Zpos (XI (XO (XI (XO (XO (XI
+    XH))))))) :: ((Zpos (XO (XO (XO (XI (XI (XI XH))))))) :: ((Zpos (XI (XI
+    (XO (XO (XO (XI XH))))))) :: ((Zpos (XO (XO (XI (XI (XO (XI
+    XH))))))) :: ((Zpos (XI (XO (XI (XO (XI (XI XH))))))) :: ((Zpos (XO (XO
+    (XI (XO (XO (XI XH))))))) :: ((Zpos (XI (XO (XI (XO (XO (XI
+    XH))))))) :: []))))))), (((Zpos (XI (XO (XI (XO (XO (XI
+    XH))))))) :: ((Zpos (XO (XO (XO (XI (XI (XI XH))))))) :: ((Zpos (XI (XI
+    (XO (XO (XO (XI XH))))))) :: ((Zpos (XO (XO (XI (XI (XO (XI
+    XH))))))) :: ((Zpos (XI (XO (XI (XO (XI (XI XH))))))) :: ((Zpos (XO (XO
+    (XI (XO (XO (XI XH))))))) :: ((Zpos (XI (XO (XI (XO (XO (XI
+    XH))))))) :: []))))))) :: [])) :: ((((Zpos (XI (XO (XI (XO (XO (XI
+    XH))))))) :: ((Zpos (XO (XO (XO (XI (XI (XI XH))))))) :: ((Zpos (XI (XI
+    (XO (XO (XO (XI XH))))))) :: ((Zpos (XO (XO (XI (XI (XO (XI
+    XH))))))) :: ((Zpos (XI (XO (XI (XO (XI (XI XH))))))) :: ((Zpos (XO (XO
+    (XI (XO (XO (XI XH))))))) :: ((Zpos (XI (XO (XI (XO (XO (XI
+    XH))))))) :: ((Zpos (XI (XO (XI (XI (XO XH)))))) :: ((Zpos (XI (XO (XI
+    (XI (XO (XI XH))))))) :: ((Zpos (XI (XO (XI (XO (XI (XI
+    XH))))))) :: ((Zpos (XO (XO (XI (XI (XO (XI XH))))))) :: ((Zpos (XO (XO
+    (XI (XO (XI (XI XH))))))) :: ((Zpos (XI (XO (XO (XI (XO (XI
+    XH))))))) :: []))))))))))))), (((Zpos (XI (XO (XI (XO (XO (XI
+    XH))))))) :: ((Zpos (XO (XO (XO (XI (XI (XI XH))))))) :: ((Zpos (XI (XI
+    (XO (XO (XO (XI XH))))))) :: ((Zpos (XO (XO (XI (XI (XO (XI
+    XH))))))) :: ((Zpos (XI (XO (XI (XO (XI (XI XH))))))) :: ((Zpos (XO (XO
+    (XI (XO (XO (XI XH))))))) :: ((Zpos (XI (XO (XI (XO (XO (XI
+    XH))))))) :: ((Zpos (XI (XO (XI (XI (XO XH)))))) :: ((Zpos (XI (XO (XI
+    (XI (XO (XI XH))))))) :: ((Zpos (XI (XO (XI (XO (XI (XI
+    XH))))))) :: ((Zpos (XO (XO (XI (XI (XO (XI XH))))))) :: ((Zpos (XO (XO
+    (XI (XO (XI (XI XH))))))) :: ((Zpos (XI (XO (XO (XI (XO (XI
+    XH))))))) :: []))))))))))))) :: [])) :: ((((Zpos (XI (XI (XO (XO (XO (XI
+    XH))))))) :: ((Zpos (XO (XO (XO (XI (XO (XI XH))))))) :: ((Zpos (XI (XO
+    (XO (XO (XO (XI XH))))))) :: ((Zpos (XO (XI (XI (XI (XO (XI
+    XH))))))) :: ((Zpos (XI (XI (XI (XO (XO (XI XH))))))) :: ((Zpos (XI (XO
+    (XI (XO (XO (XI XH))))))) :: ((Zpos (XI (XO (XI (XI (XO
+    XH)))))) :: ((Zpos (XI (XO (XI (XI (XO (XI XH))))))) :: ((Zpos (XI (XO
+    (XI (XO (XI (XI XH))))))) :: ((Zpos (XO (XO (XI (XI (XO (XI
+    XH))))))) :: ((Zpos (XO (XO (XI (XO (XI (XI XH))))))) :: ((Zpos (XI (XO
+    (XO (XI (XO (XI XH))))))) :: [])))))))))))), (((Zpos (XI (XI (XO (XO (XO
+    (XI XH))))))) :: ((Zpos (XO (XO (XO (XI (XO (XI XH))))))) :: ((Zpos (XI
+    (XO (XO (XO (XO (XI XH))))))) :: ((Zpos (XO (XI (XI (XI (XO (XI
+    XH))))))) :: ((Zpos (XI (XI (XI (XO (XO (XI XH))))))) :: ((Zpos (XI (XO
+    (XI (XO (XO (XI XH))))))) :: ((Zpos (XI (XO (XI (XI (XO
+    XH)))))) :: ((Zpos (XI (XO (XI (XI (XO (XI XH))))))) :: ((Zpos (XI (XO
+    (XI (XO (XI (XI XH))))))) :: ((Zpos (XO (XO (XI (XI (XO (XI
+    XH))))))) :: ((Zpos (XO (XO (XI (XO (XI (XI XH))))))) :: ((Zpos (XI (XO
+    (XO (XI (XO (XI
+    XH))))))) :: [])))))))))))) :: [])) :: [])))))))))))))))))))))))))))))))))))))))))))))))))))))))))))))))))))))))))))))))))))))))))))))
+
+(** val arg_actions : (str * str) list **)
+
+let arg_actions =
+  (((Zpos (XO (XI (XO (XO (XO (XI XH))))))) :: ((Zpos (XI (XO (XI (XO (XO (XI
+    XH))))))) :: ((Zpos (XI (XI (XO (XO (XO (XI XH))))))) :: ((Zpos (XI (XI
+    (XI (XI (XO (XI XH))))))) :: ((Zpos (XI (XO (XI (XI (XO (XI
+    XH))))))) :: ((Zpos (XI (XO (XI (XO (XO (XI XH))))))) :: [])))))), ((Zpos
+    (XO (XI (XO (XO (XO (XI XH))))))) :: ((Zpos (XI (XO (XI (XO (XO (XI
+    XH))))))) :: ((Zpos (XI (XI (XO (XO (XO (XI XH))))))) :: ((Zpos (XI (XI
+    (XI (XI (XO (XI XH))))))) :: ((Zpos (XI (XO (XI (XI (XO (XI
+    XH))))))) :: ((Zpos (XI (XO (XI (XO (XO (XI
+    XH))))))) :: []))))))) :: ((((Zpos (XO (XI (XO (XO (XI (XI
+    XH))))))) :: ((Zpos (XI (XO (XI (XO (XO (XI XH))))))) :: ((Zpos (XO (XO
+    (XI (XI (XO (XI XH))))))) :: ((Zpos (XI (XI (XI (XI (XO (XI
+    XH))))))) :: ((Zpos (XI (XO (XO (XO (XO (XI XH))))))) :: ((Zpos (XO (XO
+    (XI (XO (XO (XI XH))))))) :: [])))))), ((Zpos (XO (XI (XO (XO (XI (XI
+    XH))))))) :: ((Zpos (XI (XO (XI (XO (XO (XI XH))))))) :: ((Zpos (XO (XO
+    (XI (XI (XO (XI XH))))))) :: ((Zpos (XI (XI (XI (XI (XO (XI
+    XH))))))) :: ((Zpos (XI (XO (XO (XO (XO (XI XH))))))) :: ((Zpos (XO (XO
+    (XI (XO (XO (XI XH))))))) :: []))))))) :: ((((Zpos (XO (XI (XO (XO (XI
+    (XI XH))))))) :: ((Zpos (XI (XO (XI (XO (XO (XI XH))))))) :: ((Zpos (XO
+    (XO (XI (XI (XO (XI XH))))))) :: ((Zpos (XI (XI (XI (XI (XO (XI
+    XH))))))) :: ((Zpos (XI (XO (XO (XO (XO (XI XH))))))) :: ((Zpos (XO (XO
+    (XI (XO (XO (XI XH))))))) :: ((Zpos (XI (XO (XI (XI (XO
+    XH)))))) :: ((Zpos (XI (XI (XO (XO (XI (XI XH))))))) :: ((Zpos (XI (XO
+    (XO (XI (XI (XI XH))))))) :: ((Zpos (XO (XI (XI (XI (XO (XI
+    XH))))))) :: ((Zpos (XI (XI (XO (XO (XO (XI XH))))))) :: []))))))))))),
+    ((Zpos (XO (XI (XO (XO (XI (XI XH))))))) :: ((Zpos (XI (XO (XI (XO (XO
+    (XI XH))))))) :: ((Zpos (XO (XO (XI (XI (XO (XI XH))))))) :: ((Zpos (XI
+    (XI (XI (XI (XO (XI XH))))))) :: ((Zpos (XI (XO (XO (XO (XO (XI
+    XH))))))) :: ((Zpos (XO (XO (XI (XO (XO (XI XH))))))) :: ((Zpos (XI (XO
+    (XI (XI (XO XH)))))) :: ((Zpos (XI (XI (XO (XO (XI (XI
+    XH))))))) :: ((Zpos (XI (XO (XO (XI (XI (XI XH))))))) :: ((Zpos (XO (XI
+    (XI (XI (XO (XI XH))))))) :: ((Zpos (XI (XI (XO (XO (XO (XI
+    XH))))))) :: [])))))))))))) :: ((((Zpos (XI (XO (XI (XO (XI (XI
+    XH))))))) :: ((Zpos (XO (XI (XI (XI (XO (XI XH))))))) :: ((Zpos (XO (XI
+    (XO (XO (XO (XI XH))))))) :: ((Zpos (XI (XO (XO (XI (XO (XI
+    XH))))))) :: ((Zpos (XO (XI (XI (XI (XO (XI XH))))))) :: ((Zpos (XO (XO
+    (XI (XO (XO (XI XH))))))) :: [])))))), ((Zpos (XI (XO (XI (XO (XI (XI
+    XH))))))) :: ((Zpos (XO (XI (XI (XI (XO (XI XH))))))) :: ((Zpos (XO (XI
+    (XO (XO (XO (XI XH))))))) :: ((Zpos (XI (XO (XO (XI (XO (XI
+    XH))))))) :: ((Zpos (XO (XI (XI (XI (XO (XI XH))))))) :: ((Zpos (XO (XO
+    (XI (XO (XO (XI XH))))))) :: []))))))) :: ((((Zpos (XO (XI (XO (XO (XI
+    (XI XH))))))) :: ((Zpos (XI (XO (XI (XO (XO (XI XH))))))) :: ((Zpos (XO
+    (XI (XO (XO (XO (XI XH))))))) :: ((Zpos (XI (XO (XO (XI (XO (XI
+    XH))))))) :: ((Zpos (XO (XI (XI (XI (XO (XI XH))))))) :: ((Zpos (XO (XO
+    (XI (XO (XO (XI XH))))))) :: [])))))), ((Zpos (XO (XI (XO (XO (XI (XI
+    XH))))))) :: ((Zpos (XI (XO (XI (XO (XO (XI XH))))))) :: ((Zpos (XO (XI
+    (XO (XO (XO (XI XH))))))) :: ((Zpos (XI (XO (XO (XI (XO (XI
+    XH))))))) :: ((Zpos (XO (XI (XI (XI (XO (XI XH))))))) :: ((Zpos (XO (XO
+    (XI (XO (XO (XI XH))))))) :: []))))))) :: ((((Zpos (XO (XO (XI (XO (XI
+    (XI XH))))))) :: ((Zpos (XI (XI (XI (XI (XO (XI XH))))))) :: ((Zpos (XI
+    (XI (XI (XO (XO (XI XH))))))) :: ((Zpos (XI (XI (XI (XO (XO (XI
+    XH))))))) :: ((Zpos (XO (XO (XI (XI (XO (XI XH))))))) :: ((Zpos (XI (XO
+    (XI (XO (XO (XI XH))))))) :: ((Zpos (XI (XO (XI (XI (XO
+    XH)))))) :: ((Zpos (XO (XI (XO (XO (XO (XI XH))))))) :: ((Zpos (XI (XO
+    (XO (XI (XO (XI XH))))))) :: ((Zpos (XO (XI (XI (XI (XO (XI
+    XH))))))) :: ((Zpos (XO (XO (XI (XO (XO (XI XH))))))) :: []))))))))))),
+    ((Zpos (XO (XO (XI (XO (XI (XI XH))))))) :: ((Zpos (XI (XI (XI (XI (XO
+    (XI XH))))))) :: ((Zpos (XI (XI (XI (XO (XO (XI XH))))))) :: ((Zpos (XI
+    (XI (XI (XO (XO (XI XH))))))) :: ((Zpos (XO (XO (XI (XI (XO (XI
+    XH))))))) :: ((Zpos (XI (XO (XI (XO (XO (XI XH))))))) :: ((Zpos (XI (XO
+    (XI (XI (XO XH)))))) :: ((Zpos (XO (XI (XO (XO (XO (XI
+    XH))))))) :: ((Zpos (XI (XO (XO (XI (XO (XI XH))))))) :: ((Zpos (XO (XI
+    (XI (XI (XO (XI XH))))))) :: ((Zpos (XO (XO (XI (XO (XO (XI
+    XH))))))) :: [])))))))))))) :: ((((Zpos (XO (XO (XO (XO (XI (XI
+    XH))))))) :: ((Zpos (XO (XI (XO (XO (XI (XI XH))))))) :: ((Zpos (XI (XO
+    (XI (XO (XO (XI XH))))))) :: ((Zpos (XO (XI (XI (XO (XI (XI
+    XH))))))) :: ((Zpos (XI (XO (XO (XI (XO (XI XH))))))) :: ((Zpos (XI (XO
+    (XI (XO (XO (XI XH))))))) :: ((Zpos (XI (XI (XI (XO (XI (XI
+    XH))))))) :: []))))))), ((Zpos (XO (XO (XO (XO (XI (XI
+    XH))))))) :: ((Zpos (XO (XI (XO (XO (XI (XI XH))))))) :: ((Zpos (XI (XO
+    (XI (XO (XO (XI XH))))))) :: ((Zpos (XO (XI (XI (XO (XI (XI
+    XH))))))) :: ((Zpos (XI (XO (XO (XI (XO (XI XH))))))) :: ((Zpos (XI (XO
+    (XI (XO (XO (XI XH))))))) :: ((Zpos (XI (XI (XI (XO (XI (XI
+    XH))))))) :: [])))))))) :: ((((Zpos (XI (XI (XO (XO (XO (XI
+    XH))))))) :: ((Zpos (XO (XO (XO (XI (XO (XI XH))))))) :: ((Zpos (XI (XO
+    (XO (XO (XO (XI XH))))))) :: ((Zpos (XO (XI (XI (XI (XO (XI
+    XH))))))) :: ((Zpos (XI (XI (XI (XO (XO (XI XH))))))) :: ((Zpos (XI (XO
+    (XI (XO (XO (XI XH))))))) :: ((Zpos (XI (XO (XI (XI (XO
+    XH)))))) :: ((Zpos (XO (XO (XO (XI (XO (XI XH))))))) :: ((Zpos (XI (XO
+    (XI (XO (XO (XI XH))))))) :: ((Zpos (XI (XO (XO (XO (XO (XI
+    XH))))))) :: ((Zpos (XO (XO (XI (XO (XO (XI XH))))))) :: ((Zpos (XI (XO
+    (XI (XO (XO (XI XH))))))) :: ((Zpos (XO (XI (XO (XO (XI (XI
+    XH))))))) :: []))))))))))))), ((Zpos (XI (XI (XO (XO (XO (XI
+    XH))))))) :: ((Zpos (XO (XO (XO (XI (XO (XI XH))))))) :: ((Zpos (XI (XO
+    (XO (XO (XO (XI XH))))))) :: ((Zpos (XO (XI (XI (XI (XO (XI
+    XH))))))) :: ((Zpos (XI (XI (XI (XO (XO (XI XH))))))) :: ((Zpos (XI (XO
+    (XI (XO (XO (XI XH))))))) :: ((Zpos (XI (XO (XI (XI (XO
+    XH)))))) :: ((Zpos (XO (XO (XO (XI (XO (XI XH))))))) :: ((Zpos (XI (XO
+    (XI (XO (XO (XI XH))))))) :: ((Zpos (XI (XO (XO (XO (XO (XI
+    XH))))))) :: ((Zpos (XO (XO (XI (XO (XO (XI XH))))))) :: ((Zpos (XI (XO
+    (XI (XO (XO (XI XH))))))) :: ((Zpos (XO (XI (XO (XO (XI (XI
+    XH))))))) :: [])))))))))))))) :: ((((Zpos (XI (XI (XO (XO (XO (XI
+    XH))))))) :: ((Zpos (XO (XO (XO (XI (XO (XI XH))))))) :: ((Zpos (XI (XO
+    (XO (XO (XO (XI XH))))))) :: ((Zpos (XO (XI (XI (XI (XO (XI
+    XH))))))) :: ((Zpos (XI (XI (XI (XO (XO (XI XH))))))) :: ((Zpos (XI (XO
+    (XI (XO (XO (XI XH))))))) :: ((Zpos (XI (XO (XI (XI (XO
+    XH)))))) :: ((Zpos (XO (XO (XI (XI (XO (XI XH))))))) :: ((Zpos (XI (XO
+    (XO (XI (XO (XI XH))))))) :: ((Zpos (XI (XI (XO (XO (XI (XI
+    XH))))))) :: ((Zpos (XO (XO (XI (XO (XI (XI XH))))))) :: ((Zpos (XI (XO
+    (XI (XI (XO XH)))))) :: ((Zpos (XO (XO (XI (XI (XO (XI
+    XH))))))) :: ((Zpos (XI (XO (XO (XO (XO (XI XH))))))) :: ((Zpos (XO (XI
+    (XO (XO (XO (XI XH))))))) :: ((Zpos (XI (XO (XI (XO (XO (XI
+    XH))))))) :: ((Zpos (XO (XO (XI (XI (XO (XI
+    XH))))))) :: []))))))))))))))))), ((Zpos (XI (XI (XO (XO (XO (XI
+    XH))))))) :: ((Zpos (XO (XO (XO (XI (XO (XI XH))))))) :: ((Zpos (XI (XO
+    (XO (XO (XO (XI XH))))))) :: ((Zpos (XO (XI (XI (XI (XO (XI
+    XH))))))) :: ((Zpos (XI (XI (XI (XO (XO (XI XH))))))) :: ((Zpos (XI (XO
+    (XI (XO (XO (XI XH))))))) :: ((Zpos (XI (XO (XI (XI (XO
+    XH)))))) :: ((Zpos (XO (XO (XI (XI (XO (XI XH))))))) :: ((Zpos (XI (XO
+    (XO (XI (XO (XI XH))))))) :: ((Zpos (XI (XI (XO (XO (XI (XI
+    XH))))))) :: ((Zpos (XO (XO (XI (XO (XI (XI XH))))))) :: ((Zpos (XI (XO
+    (XI (XI (XO XH)))))) :: ((Zpos (XO (XO (XI (XI (XO (XI
+    XH))))))) :: ((Zpos (XI (XO (XO (XO (XO (XI XH))))))) :: ((Zpos (XO (XI
+    (XO (XO (XO (XI XH))))))) :: ((Zpos (XI (XO (XI (XO (XO (XI
+    XH))))))) :: ((Zpos (XO (XO (XI (XI (XO (XI
+    XH))))))) :: [])))))))))))))))))) :: ((((Zpos (XI (XI (XO (XO (XO (XI
+    XH))))))) :: ((Zpos (XO (XO (XO (XI (XO (XI XH))))))) :: ((Zpos (XI (XO
+    (XO (XO (XO (XI XH))))))) :: ((Zpos (XO (XI (XI (XI (XO (XI
+    XH))))))) :: ((Zpos (XI (XI (XI (XO (XO (XI XH))))))) :: ((Zpos (XI (XO
+    (XI (XO (XO (XI XH))))))) :: ((Zpos (XI (XO (XI (XI (XO
+    XH)))))) :: ((Zpos (XO (XI (XO (XO (XO (XI XH))))))) :: ((Zpos (XI (XI
+    (XI (XI (XO (XI XH))))))) :: ((Zpos (XO (XI (XO (XO (XI (XI
+    XH))))))) :: ((Zpos (XO (XO (XI (XO (XO (XI XH))))))) :: ((Zpos (XI (XO
+    (XI (XO (XO (XI XH))))))) :: ((Zpos (XO (XI (XO (XO (XI (XI
+    XH))))))) :: ((Zpos (XI (XO (XI (XI (XO XH)))))) :: ((Zpos (XO (XO (XI
+    (XI (XO (XI XH))))))) :: ((Zpos (XI (XO (XO (XO (XO (XI
+    XH))))))) :: ((Zpos (XO (XI (XO (XO (XO (XI XH))))))) :: ((Zpos (XI (XO
+    (XI (XO (XO (XI XH))))))) :: ((Zpos (XO (XO (XI (XI (XO (XI
+    XH))))))) :: []))))))))))))))))))), ((Zpos (XI (XI (XO (XO (XO (XI
+    XH))))))) :: ((Zpos (XO (XO (XO (XI (XO (XI XH))))))) :: ((Zpos (XI (XO
+    (XO (XO (XO (XI XH))))))) :: ((Zpos (XO (XI (XI (XI (XO (XI
+    XH))))))) :: ((Zpos (XI (XI (XI (XO (XO (XI XH))))))) :: ((Zpos (XI (XO
+    (XI (XO (XO (XI XH))))))) :: ((Zpos (XI (XO (XI (XI (XO
+    XH)))))) :: ((Zpos (XO (XI (XO (XO (XO (XI XH))))))) :: ((Zpos (XI (XI
+    (XI (XI (XO (XI XH))))))) :: ((Zpos (XO (XI (XO (XO (XI (XI
+    XH))))))) :: ((Zpos (XO (XO (XI (XO (XO (XI XH))))))) :: ((Zpos (XI (XO
+    (XI (XO (XO (XI XH))))))) :: ((Zpos (XO (XI (XO (XO (XI (XI
+    XH))))))) :: ((Zpos (XI (XO (XI (XI (XO XH)))))) :: ((Zpos (XO (XO (XI
+    (XI (XO (XI XH))))))) :: ((Zpos (XI (XO (XO (XO (XO (XI
+    XH))))))) :: ((Zpos (XO (XI (XO (XO (XO (XI XH))))))) :: ((Zpos (XI (XO
+    (XI (XO (XO (XI XH))))))) :: ((Zpos (XO (XO (XI (XI (XO (XI
+    XH))))))) :: [])))))))))))))))))))) :: ((((Zpos (XI (XI (XO (XO (XO (XI
+    XH))))))) :: ((Zpos (XO (XO (XO (XI (XO (XI XH))))))) :: ((Zpos (XI (XO
+    (XO (XO (XO (XI XH))))))) :: ((Zpos (XO (XI (XI (XI (XO (XI
+    XH))))))) :: ((Zpos (XI (XI (XI (XO (XO (XI XH))))))) :: ((Zpos (XI (XO
+    (XI (XO (XO (XI XH))))))) :: ((Zpos (XI (XO (XI (XI (XO
+    XH)))))) :: ((Zpos (XO (XO (XO (XO (XI (XI XH))))))) :: ((Zpos (XO (XI
+    (XO (XO (XI (XI XH))))))) :: ((Zpos (XI (XO (XI (XO (XO (XI
+    XH))))))) :: ((Zpos (XO (XI (XI (XO (XI (XI XH))))))) :: ((Zpos (XI (XO
+    (XO (XI (XO (XI XH))))))) :: ((Zpos (XI (XO (XI (XO (XO (XI
+    XH))))))) :: ((Zpos (XI (XI (XI (XO (XI (XI XH))))))) :: ((Zpos (XI (XO
+    (XI (XI (XO XH)))))) :: ((Zpos (XO (XO (XI (XI (XO (XI
+    XH))))))) :: ((Zpos (XI (XO (XO (XO (XO (XI XH))))))) :: ((Zpos (XO (XI
+    (XO (XO (XO (XI XH))))))) :: ((Zpos (XI (XO (XI (XO (XO (XI
+    XH))))))) :: ((Zpos (XO (XO (XI (XI (XO (XI
+    XH))))))) :: [])))))))))))))))))))), ((Zpos (XI (XI (XO (XO (XO (XI
+    XH))))))) :: ((Zpos (XO (XO (XO (XI (XO (XI XH))))))) :: ((Zpos (XI (XO
+    (XO (XO (XO (XI XH))))))) :: ((Zpos (XO (XI (XI (XI (XO (XI
+    XH))))))) :: ((Zpos (XI (XI (XI (XO (XO (XI XH))))))) :: ((Zpos (XI (XO
+    (XI (XO (XO (XI XH))))))) :: ((Zpos (XI (XO (XI (XI (XO
+    XH)))))) :: ((Zpos (XO (XO (XO (XO (XI (XI XH))))))) :: ((Zpos (XO (XI
+    (XO (XO (XI (XI XH))))))) :: ((Zpos (XI (XO (XI (XO (XO (XI
+    XH))))))) :: ((Zpos (XO (XI (XI (XO (XI (XI XH))))))) :: ((Zpos (XI (XO
+    (XO (XI (XO (XI XH))))))) :: ((Zpos (XI (XO (XI (XO (XO (XI
+    XH))))))) :: ((Zpos (XI (XI (XI (XO (XI (XI XH))))))) :: ((Zpos (XI (XO
+    (XI (XI (XO XH)))))) :: ((Zpos (XO (XO (XI (XI (XO (XI
+    XH))))))) :: ((Zpos (XI (XO (XO (XO (XO (XI XH))))))) :: ((Zpos (XO (XI
+    (XO (XO (XO (XI XH))))))) :: ((Zpos (XI (XO (XI (XO (XO (XI
+    XH))))))) :: ((Zpos (XO (XO (XI (XI (XO (XI
+    XH))))))) :: []))))))))))))))))))))) :: ((((Zpos (XI (XI (XO (XO (XO (XI
+    XH))))))) :: ((Zpos (XO (XO (XO (XI (XO (XI XH))))))) :: ((Zpos (XI (XO
+    (XO (XO (XO (XI XH))))))) :: ((Zpos (XO (XI (XI (XI (XO (XI
+    XH))))))) :: ((Zpos (XI (XI (XI (XO (XO (XI XH))))))) :: ((Zpos (XI (XO
+    (XI (XO (XO (XI XH))))))) :: ((Zpos (XI (XO (XI (XI (XO
+    XH)))))) :: ((Zpos (XI (XO (XO (XI (XO (XI XH))))))) :: ((Zpos (XO (XI
+    (XI (XI (XO (XI XH))))))) :: ((Zpos (XO (XO (XO (XO (XI (XI
+    XH))))))) :: ((Zpos (XI (XO (XI (XO (XI (XI XH))))))) :: ((Zpos (XO (XO
+    (XI (XO (XI (XI XH))))))) :: ((Zpos (XI (XO (XI (XI (XO
+    XH)))))) :: ((Zpos (XO (XO (XI (XI (XO (XI XH))))))) :: ((Zpos (XI (XO
+    (XO (XO (XO (XI XH))))))) :: ((Zpos (XO (XI (XO (XO (XO (XI
+    XH))))))) :: ((Zpos (XI (XO (XI (XO (XO (XI XH))))))) :: ((Zpos (XO (XO
+    (XI (XI (XO (XI XH))))))) :: [])))))))))))))))))), ((Zpos (XI (XI (XO (XO
+    (XO (XI XH))))))) :: ((Zpos (XO (XO (XO (XI (XO (XI XH))))))) :: ((Zpos
+    (XI (XO (XO (XO (XO (XI XH))))))) :: ((Zpos (XO (XI (XI (XI (XO (XI
+    XH))))))) :: ((Zpos (XI (XI (XI (XO (XO (XI XH))))))) :: ((Zpos (XI (XO
+    (XI (XO (XO (XI XH))))))) :: ((Zpos (XI (XO (XI (XI (XO
+    XH)))))) :: ((Zpos (XI (XO (XO (XI (XO (XI XH))))))) :: ((Zpos (XO (XI
+    (XI (XI (XO (XI XH))))))) :: ((Zpos (XO (XO (XO (XO (XI (XI
+    XH))))))) :: ((Zpos (XI (XO (XI (XO (XI (XI XH))))))) :: ((Zpos (XO (XO
+    (XI (XO (XI (XI XH))))))) :: ((Zpos (XI (XO (XI (XI (XO
+    XH)))))) :: ((Zpos (XO (XO (XI (XI (XO (XI XH))))))) :: ((Zpos (XI (XO
+    (XO (XO (XO (XI XH))))))) :: ((Zpos (XO (XI (XO (XO (XO (XI
+    XH))))))) :: ((Zpos (XI (XO (XI (XO (XO (XI XH))))))) :: ((Zpos (XO (XO
+    (XI (XI (XO (XI XH))))))) :: []))))))))))))))))))) :: ((((Zpos (XI (XI
+    (XO (XO (XO (XI XH))))))) :: ((Zpos (XO (XO (XO (XI (XO (XI
+    XH))))))) :: ((Zpos (XI (XO (XO (XO (XO (XI XH))))))) :: ((Zpos (XO (XI
+    (XI (XI (XO (XI XH))))))) :: ((Zpos (XI (XI (XI (XO (XO (XI
+    XH))))))) :: ((Zpos (XI (XO (XI (XO (XO (XI XH))))))) :: ((Zpos (XI (XO
+    (XI (XI (XO XH)))))) :: ((Zpos (XO (XO (XO (XI (XO (XI
+    XH))))))) :: ((Zpos (XI (XO (XI (XO (XO (XI XH))))))) :: ((Zpos (XI (XO
+    (XO (XO (XO (XI XH))))))) :: ((Zpos (XO (XO (XI (XO (XO (XI
+    XH))))))) :: ((Zpos (XI (XO (XI (XO (XO (XI XH))))))) :: ((Zpos (XO (XI
+    (XO (XO (XI (XI XH))))))) :: ((Zpos (XI (XO (XI (XI (XO
+    XH)))))) :: ((Zpos (XO (XO (XI (XI (XO (XI XH))))))) :: ((Zpos (XI (XO
+    (XO (XO (XO (XI XH))))))) :: ((Zpos (XO (XI (XO (XO (XO (XI
+    XH))))))) :: ((Zpos (XI (XO (XI (XO (XO (XI XH))))))) :: ((Zpos (XO (XO
+    (XI (XI (XO (XI XH))))))) :: []))))))))))))))))))), ((Zpos (XI (XI (XO
+    (XO (XO (XI XH))))))) :: ((Zpos (XO (XO (XO (XI (XO (XI
+    XH))))))) :: ((Zpos (XI (XO (XO (XO (XO (XI XH))))))) :: ((Zpos (XO (XI
+    (XI (XI (XO (XI XH))))))) :: ((Zpos (XI (XI (XI (XO (XO (XI
+    XH))))))) :: ((Zpos (XI (XO (XI (XO (XO (XI XH))))))) :: ((Zpos (XI (XO
+    (XI (XI (XO XH)))))) :: ((Zpos (XO (XO (XO (XI (XO (XI
+    XH))))))) :: ((Zpos (XI (XO (XI (XO (XO (XI XH))))))) :: ((Zpos (XI (XO
+    (XO (XO (XO (XI XH))))))) :: ((Zpos (XO (XO (XI (XO (XO (XI
+    XH))))))) :: ((Zpos (XI (XO (XI (XO (XO (XI XH))))))) :: ((Zpos (XO (XI
+    (XO (XO (XI (XI XH))))))) :: ((Zpos (XI (XO (XI (XI (XO
+    XH)))))) :: ((Zpos (XO (XO (XI (XI (XO (XI XH))))))) :: ((Zpos (XI (XO
+    (XO (XO (XO (XI XH))))))) :: ((Zpos (XO (XI (XO (XO (XO (XI
+    XH))))))) :: ((Zpos (XI (XO (XI (XO (XO (XI XH))))))) :: ((Zpos (XO (XO
+    (XI (XI (XO (XI XH))))))) :: [])))))))))))))))))))) :: ((((Zpos (XI (XI
+    (XO (XO (XO (XI XH))))))) :: ((Zpos (XO (XO (XO (XI (XO (XI
+    XH))))))) :: ((Zpos (XI (XO (XO (XO (XO (XI XH))))))) :: ((Zpos (XO (XI
+    (XI (XI (XO (XI XH))))))) :: ((Zpos (XI (XI (XI (XO (XO (XI
+    XH))))))) :: ((Zpos (XI (XO (XI (XO (XO (XI XH))))))) :: ((Zpos (XI (XO
+    (XI (XI (XO XH)))))) :: ((Zpos (XI (XI (XI (XO (XO (XI
+    XH))))))) :: ((Zpos (XO (XO (XO (XI (XO (XI XH))))))) :: ((Zpos (XI (XI
+    (XI (XI (XO (XI XH))))))) :: ((Zpos (XI (XI (XO (XO (XI (XI
+    XH))))))) :: ((Zpos (XO (XO (XI (XO (XI (XI XH))))))) :: [])))))))))))),
+    ((Zpos (XI (XI (XO (XO (XO (XI XH))))))) :: ((Zpos (XO (XO (XO (XI (XO
+    (XI XH))))))) :: ((Zpos (XI (XO (XO (XO (XO (XI XH))))))) :: ((Zpos (XO
+    (XI (XI (XI (XO (XI XH))))))) :: ((Zpos (XI (XI (XI (XO (XO (XI
+    XH))))))) :: ((Zpos (XI (XO (XI (XO (XO (XI XH))))))) :: ((Zpos (XI (XO
+    (XI (XI (XO XH)))))) :: ((Zpos (XI (XI (XI (XO (XO (XI
+    XH))))))) :: ((Zpos (XO (XO (XO (XI (XO (XI XH))))))) :: ((Zpos (XI (XI
+    (XI (XI (XO (XI XH))))))) :: ((Zpos (XI (XI (XO (XO (XI (XI
+    XH))))))) :: ((Zpos (XO (XO (XI (XO (XI (XI
+    XH))))))) :: []))))))))))))) :: ((((Zpos (XI (XI (XO (XO (XO (XI
+    XH))))))) :: ((Zpos (XO (XO (XO (XI (XO (XI XH))))))) :: ((Zpos (XI (XO
+    (XO (XO (XO (XI XH))))))) :: ((Zpos (XO (XI (XI (XI (XO (XI
+    XH))))))) :: ((Zpos (XI (XI (XI (XO (XO (XI XH))))))) :: ((Zpos (XI (XO
+    (XI (XO (XO (XI XH))))))) :: ((Zpos (XI (XO (XI (XI (XO
+    XH)))))) :: ((Zpos (XO (XO (XO (XO (XI (XI XH))))))) :: ((Zpos (XI (XI
+    (XI (XI (XO (XI XH))))))) :: ((Zpos (XI (XO (XO (XI (XO (XI
+    XH))))))) :: ((Zpos (XO (XI (XI (XI (XO (XI XH))))))) :: ((Zpos (XO (XO
+    (XI (XO (XI (XI XH))))))) :: ((Zpos (XI (XO (XI (XO (XO (XI
+    XH))))))) :: ((Zpos (XO (XI (XO (XO (XI (XI
+    XH))))))) :: [])))))))))))))), ((Zpos (XI (XI (XO (XO (XO (XI
+    XH))))))) :: ((Zpos (XO (XO (XO (XI (XO (XI XH))))))) :: ((Zpos (XI (XO
+    (XO (XO (XO (XI XH))))))) :: ((Zpos (XO (XI (XI (XI (XO (XI
+    XH))))))) :: ((Zpos (XI (XI (XI (XO (XO (XI XH))))))) :: ((Zpos (XI (XO
+    (XI (XO (XO (XI XH))))))) :: ((Zpos (XI (XO (XI (XI (XO
+    XH)))))) :: ((Zpos (XO (XO (XO (XO (XI (XI XH))))))) :: ((Zpos (XI (XI
+    (XI (XI (XO (XI XH))))))) :: ((Zpos (XI (XO (XO (XI (XO (XI
+    XH))))))) :: ((Zpos (XO (XI (XI (XI (XO (XI XH))))))) :: ((Zpos (XO (XO
+    (XI (XO (XI (XI XH))))))) :: ((Zpos (XI (XO (XI (XO (XO (XI
+    XH))))))) :: ((Zpos (XO (XI (XO (XO (XI (XI
+    XH))))))) :: []))))))))))))))) :: ((((Zpos (XI (XI (XO (XO (XO (XI
+    XH))))))) :: ((Zpos (XO (XO (XO (XI (XO (XI XH))))))) :: ((Zpos (XI (XO
+    (XO (XO (XO (XI XH))))))) :: ((Zpos (XO (XI (XI (XI (XO (XI
+    XH))))))) :: ((Zpos (XI (XI (XI (XO (XO (XI XH))))))) :: ((Zpos (XI (XO
+    (XI (XO (XO (XI XH))))))) :: ((Zpos (XI (XO (XI (XI (XO
+    XH)))))) :: ((Zpos (XO (XO (XO (XO (XI (XI XH))))))) :: ((Zpos (XO (XI
+    (XO (XO (XI (XI XH))))))) :: ((Zpos (XI (XO (XI (XO (XO (XI
+    XH))))))) :: ((Zpos (XO (XI (XI (XO (XI (XI XH))))))) :: ((Zpos (XI (XO
+    (XO (XI (XO (XI XH))))))) :: ((Zpos (XI (XO (XI (XO (XO (XI
+    XH))))))) :: ((Zpos (XI (XI (XI (XO (XI (XI XH))))))) :: ((Zpos (XI (XO
+    (XI (XI (XO XH)))))) :: ((Zpos (XI (XI (XI (XO (XI (XI
+    XH))))))) :: ((Zpos (XI (XO (XO (XI (XO (XI XH))))))) :: ((Zpos (XO (XI
+    (XI (XI (XO (XI XH))))))) :: ((Zpos (XO (XO (XI (XO (XO (XI
+    XH))))))) :: ((Zpos (XI (XI (XI (XI (XO (XI XH))))))) :: ((Zpos (XI (XI
+    (XI (XO (XI (XI XH))))))) :: []))))))))))))))))))))), ((Zpos (XI (XI (XO
+    (XO (XO (XI XH))))))) :: ((Zpos (XO (XO (XO (XI (XO (XI
+    XH))))))) :: ((Zpos (XI (XO (XO (XO (XO (XI XH))))))) :: ((Zpos (XO (XI
+    (XI (XI (XO (XI XH))))))) :: ((Zpos (XI (XI (XI (XO (XO (XI
+    XH))))))) :: ((Zpos (XI (XO (XI (XO (XO (XI XH))))))) :: ((Zpos (XI (XO
+    (XI (XI (XO XH)))))) :: ((Zpos (XO (XO (XO (XO (XI (XI
+    XH))))))) :: ((Zpos (XO (XI (XO (XO (XI (XI XH))))))) :: ((Zpos (XI (XO
+    (XI (XO (XO (XI XH))))))) :: ((Zpos (XO (XI (XI (XO (XI (XI
+    XH))))))) :: ((Zpos (XI (XO (XO (XI (XO (XI XH))))))) :: ((Zpos (XI (XO
+    (XI (XO (XO (XI XH))))))) :: ((Zpos (XI (XI (XI (XO (XI (XI
+    XH))))))) :: ((Zpos (XI (XO (XI (XI (XO XH)))))) :: ((Zpos (XI (XI (XI
+    (XO (XI (XI XH))))))) :: ((Zpos (XI (XO (XO (XI (XO (XI
+    XH))))))) :: ((Zpos (XO (XI (XI (XI (XO (XI XH))))))) :: ((Zpos (XO (XO
+    (XI (XO (XO (XI XH))))))) :: ((Zpos (XI (XI (XI (XI (XO (XI
+    XH))))))) :: ((Zpos (XI (XI (XI (XO (XI (XI
+    XH))))))) :: [])))))))))))))))))))))) :: ((((Zpos (XI (XI (XO (XO (XO (XI
+    XH))))))) :: ((Zpos (XO (XO (XO (XI (XO (XI XH))))))) :: ((Zpos (XI (XO
+    (XO (XO (XO (XI XH))))))) :: ((Zpos (XO (XI (XI (XI (XO (XI
+    XH))))))) :: ((Zpos (XI (XI (XI (XO (XO (XI XH))))))) :: ((Zpos (XI (XO
+    (XI (XO (XO (XI XH))))))) :: ((Zpos (XI (XO (XI (XI (XO
+    XH)))))) :: ((Zpos (XO (XO (XO (XO (XI (XI XH))))))) :: ((Zpos (XO (XI
+    (XO (XO (XI (XI XH))))))) :: ((Zpos (XI (XO (XI (XO (XO (XI
+    XH))))))) :: ((Zpos (XO (XI (XI (XO (XI (XI XH))))))) :: ((Zpos (XI (XO
+    (XO (XI (XO (XI XH))))))) :: ((Zpos (XI (XO (XI (XO (XO (XI
+    XH))))))) :: ((Zpos (XI (XI (XI (XO (XI (XI
+    XH))))))) :: [])))))))))))))), ((Zpos (XI (XI (XO (XO (XO (XI
+    XH))))))) :: ((Zpos (XO (XO (XO (XI (XO (XI XH))))))) :: ((Zpos (XI (XO
+    (XO (XO (XO (XI XH))))))) :: ((Zpos (XO (XI (XI (XI (XO (XI
+    XH))))))) :: ((Zpos (XI (XI (XI (XO (XO (XI XH))))))) :: ((Zpos (XI (XO
+    (XI (XO (XO (XI XH))))))) :: ((Zpos (XI (XO (XI (XI (XO
+    XH)))))) :: ((Zpos (XO (XO (XO (XO (XI (XI XH))))))) :: ((Zpos (XO (XI
+    (XO (XO (XI (XI XH))))))) :: ((Zpos (XI (XO (XI (XO (XO (XI
+    XH))))))) :: ((Zpos (XO (XI (XI (XO (XI (XI XH))))))) :: ((Zpos (XI (XO
+    (XO (XI (XO (XI XH))))))) :: ((Zpos (XI (XO (XI (XO (XO (XI
+    XH))))))) :: ((Zpos (XI (XI (XI (XO (XI (XI
+    XH))))))) :: []))))))))))))))) :: ((((Zpos (XI (XI (XO (XO (XO (XI
+    XH))))))) :: ((Zpos (XO (XO (XO (XI (XO (XI XH))))))) :: ((Zpos (XI (XO
+    (XO (XO (XO (XI XH))))))) :: ((Zpos (XO (XI (XI (XI (XO (XI
+    XH))))))) :: ((Zpos (XI (XI (XI (XO (XO (XI XH))))))) :: ((Zpos (XI (XO
+    (XI (XO (XO (XI XH))))))) :: ((Zpos (XI (XO (XI (XI (XO
+    XH)))))) :: ((Zpos (XO (XO (XO (XO (XI (XI XH))))))) :: ((Zpos (XO (XI
+    (XO (XO (XI (XI XH))))))) :: ((Zpos (XI (XI (XI (XI (XO (XI
+    XH))))))) :: ((Zpos (XI (XO (XI (XI (XO (XI XH))))))) :: ((Zpos (XO (XO
+    (XO (XO (XI (XI XH))))))) :: ((Zpos (XO (XO (XI (XO (XI (XI
+    XH))))))) :: []))))))))))))), ((Zpos (XI (XI (XO (XO (XO (XI
+    XH))))))) :: ((Zpos (XO (XO (XO (XI (XO (XI XH))))))) :: ((Zpos (XI (XO
+    (XO (XO (XO (XI XH))))))) :: ((Zpos (XO (XI (XI (XI (XO (XI
+    XH))))))) :: ((Zpos (XI (XI (XI (XO (XO (XI XH))))))) :: ((Zpos (XI (XO
+    (XI (XO (XO (XI XH))))))) :: ((Zpos (XI (XO (XI (XI (XO
+    XH)))))) :: ((Zpos (XO (XO (XO (XO (XI (XI XH))))))) :: ((Zpos (XO (XI
+    (XO (XO (XI (XI XH))))))) :: ((Zpos (XI (XI (XI (XI (XO (XI
+    XH))))))) :: ((Zpos (XI (XO (XI (XI (XO (XI XH))))))) :: ((Zpos (XO (XO
+    (XO (XO (XI (XI XH))))))) :: ((Zpos (XO (XO (XI (XO (XI (XI
+    XH))))))) :: [])))))))))))))) :: ((((Zpos (XI (XI (XO (XO (XO (XI
+    XH))))))) :: ((Zpos (XO (XO (XO (XI (XO (XI XH))))))) :: ((Zpos (XI (XO
+    (XO (XO (XO (XI XH))))))) :: ((Zpos (XO (XI (XI (XI (XO (XI
+    XH))))))) :: ((Zpos (XI (XI (XI (XO (XO (XI XH))))))) :: ((Zpos (XI (XO
+    (XI (XO (XO (XI XH))))))) :: ((Zpos (XI (XO (XI (XI (XO
+    XH)))))) :: ((Zpos (XI (XO (XO (XO (XI (XI XH))))))) :: ((Zpos (XI (XO
+    (XI (XO (XI (XI XH))))))) :: ((Zpos (XI (XO (XI (XO (XO (XI
+    XH))))))) :: ((Zpos (XO (XI (XO (XO (XI (XI XH))))))) :: ((Zpos (XI (XO
+    (XO (XI (XI (XI XH))))))) :: [])))))))))))), ((Zpos (XI (XI (XO (XO (XO
+    (XI XH))))))) :: ((Zpos (XO (XO (XO (XI (XO (XI XH))))))) :: ((Zpos (XI
+    (XO (XO (XO (XO (XI XH))))))) :: ((Zpos (XO (XI (XI (XI (XO (XI
+    XH))))))) :: ((Zpos (XI (XI (XI (XO (XO (XI XH))))))) :: ((Zpos (XI (XO
+    (XI (XO (XO (XI XH))))))) :: ((Zpos (XI (XO (XI (XI (XO
+    XH)))))) :: ((Zpos (XI (XO (XO (XO (XI (XI XH))))))) :: ((Zpos (XI (XO
+    (XI (XO (XI (XI XH))))))) :: ((Zpos (XI (XO (XI (XO (XO (XI
+    XH))))))) :: ((Zpos (XO (XI (XO (XO (XI (XI XH))))))) :: ((Zpos (XI (XO
+    (XO (XI (XI (XI XH))))))) :: []))))))))))))) :: ((((Zpos (XI (XI (XO (XO
+    (XO (XI XH))))))) :: ((Zpos (XO (XO (XO (XI (XO (XI XH))))))) :: ((Zpos
+    (XI (XO (XO (XO (XO (XI XH))))))) :: ((Zpos (XO (XI (XI (XI (XO (XI
+    XH))))))) :: ((Zpos (XI (XI (XI (XO (XO (XI XH))))))) :: ((Zpos (XI (XO
+    (XI (XO (XO (XI XH))))))) :: ((Zpos (XI (XO (XI (XI (XO
+    XH)))))) :: ((Zpos (XI (XO (XI (XI (XO (XI XH))))))) :: ((Zpos (XI (XO
+    (XI (XO (XI (XI XH))))))) :: ((Zpos (XO (XO (XI (XI (XO (XI
+    XH))))))) :: ((Zpos (XO (XO (XI (XO (XI (XI XH))))))) :: ((Zpos (XI (XO
+    (XO (XI (XO (XI XH))))))) :: [])))))))))))), ((Zpos (XI (XI (XO (XO (XO
+    (XI XH))))))) :: ((Zpos (XO (XO (XO (XI (XO (XI XH))))))) :: ((Zpos (XI
+    (XO (XO (XO (XO (XI XH))))))) :: ((Zpos (XO (XI (XI (XI (XO (XI
+    XH))))))) :: ((Zpos (XI (XI (XI (XO (XO (XI XH))))))) :: ((Zpos (XI (XO
+    (XI (XO (XO (XI XH))))))) :: ((Zpos (XI (XO (XI (XI (XO
+    XH)))))) :: ((Zpos (XI (XO (XI (XI (XO (XI XH))))))) :: ((Zpos (XI (XO
+    (XI (XO (XI (XI XH))))))) :: ((Zpos (XO (XO (XI (XI (XO (XI
+    XH))))))) :: ((Zpos (XO (XO (XI (XO (XI (XI XH))))))) :: ((Zpos (XI (XO
+    (XO (XI (XO (XI XH))))))) :: []))))))))))))) :: ((((Zpos (XI (XI (XO (XO
+    (XO (XI XH))))))) :: ((Zpos (XO (XO (XO (XI (XO (XI XH))))))) :: ((Zpos
+    (XI (XO (XO (XO (XO (XI XH))))))) :: ((Zpos (XO (XI (XI (XI (XO (XI
+    XH))))))) :: ((Zpos (XI (XI (XI (XO (XO (XI XH))))))) :: ((Zpos (XI (XO
+    (XI (XO (XO (XI XH))))))) :: ((Zpos (XI (XO (XI (XI (XO
+    XH)))))) :: ((Zpos (XO (XI (XI (XI (XO (XI XH))))))) :: ((Zpos (XO (XO
+    (XI (XO (XI (XI XH))))))) :: ((Zpos (XO (XO (XO (XI (XO (XI
+    XH))))))) :: [])))))))))), ((Zpos (XI (XI (XO (XO (XO (XI
+    XH))))))) :: ((Zpos (XO (XO (XO (XI (XO (XI XH))))))) :: ((Zpos (XI (XO
+    (XO (XO (XO (XI XH))))))) :: ((Zpos (XO (XI (XI (XI (XO (XI
+    XH))))))) :: ((Zpos (XI (XI (XI (XO (XO (XI XH))))))) :: ((Zpos (XI (XO
+    (XI (XO (XO (XI XH))))))) :: ((Zpos (XI (XO (XI (XI (XO
+    XH)))))) :: ((Zpos (XO (XI (XI (XI (XO (XI XH))))))) :: ((Zpos (XO (XO
+    (XI (XO (XI (XI XH))))))) :: ((Zpos (XO (XO (XO (XI (XO (XI
+    XH))))))) :: []))))))))))) :: ((((Zpos (XO (XO (XO (XO (XI (XI
+    XH))))))) :: ((Zpos (XI (XI (XI (XI (XO (XI XH))))))) :: ((Zpos (XI (XI
+    (XO (XO (XI (XI XH))))))) :: []))), ((Zpos (XO (XO (XO (XO (XI (XI
+    XH))))))) :: ((Zpos (XI (XI (XI (XI (XO (XI XH))))))) :: ((Zpos (XI (XI
+    (XO (XO (XI (XI XH))))))) :: ((Zpos (XI (XO (XO (XI (XO (XI
+    XH))))))) :: ((Zpos (XO (XO (XI (XO (XI (XI XH))))))) :: ((Zpos (XI (XO
+    (XO (XI (XO (XI XH))))))) :: ((Zpos (XI (XI (XI (XI (XO (XI
+    XH))))))) :: ((Zpos (XO (XI (XI (XI (XO (XI
+    XH))))))) :: []))))))))) :: ((((Zpos (XI (XO (XI (XO (XO (XI
+    XH))))))) :: ((Zpos (XO (XO (XO (XI (XI (XI XH))))))) :: ((Zpos (XI (XO
+    (XI (XO (XO (XI XH))))))) :: ((Zpos (XI (XI (XO (XO (XO (XI
+    XH))))))) :: ((Zpos (XI (XO (XI (XO (XI (XI XH))))))) :: ((Zpos (XO (XO
+    (XI (XO (XI (XI XH))))))) :: ((Zpos (XI (XO (XI (XO (XO (XI
+    XH))))))) :: []))))))), ((Zpos (XI (XO (XI (XO (XO (XI
+    XH))))))) :: ((Zpos (XO (XO (XO (XI (XI (XI XH))))))) :: ((Zpos (XI (XO
+    (XI (XO (XO (XI XH))))))) :: ((Zpos (XI (XI (XO (XO (XO (XI
+    XH))))))) :: ((Zpos (XI (XO (XI (XO (XI (XI XH))))))) :: ((Zpos (XO (XO
+    (XI (XO (XI (XI XH))))))) :: ((Zpos (XI (XO (XI (XO (XO (XI
+    XH))))))) :: [])))))))) :: ((((Zpos (XI (XO (XI (XO (XO (XI
+    XH))))))) :: ((Zpos (XO (XO (XO (XI (XI (XI XH))))))) :: ((Zpos (XI (XO
+    (XI (XO (XO (XI XH))))))) :: ((Zpos (XI (XI (XO (XO (XO (XI
+    XH))))))) :: ((Zpos (XI (XO (XI (XO (XI (XI XH))))))) :: ((Zpos (XO (XO
+    (XI (XO (XI (XI XH))))))) :: ((Zpos (XI (XO (XI (XO (XO (XI
+    XH))))))) :: ((Zpos (XI (XO (XI (XI (XO XH)))))) :: ((Zpos (XI (XI (XO
+    (XO (XI (XI XH))))))) :: ((Zpos (XI (XO (XO (XI (XO (XI
+    XH))))))) :: ((Zpos (XO (XO (XI (XI (XO (XI XH))))))) :: ((Zpos (XI (XO
+    (XI (XO (XO (XI XH))))))) :: ((Zpos (XO (XI (XI (XI (XO (XI
+    XH))))))) :: ((Zpos (XO (XO (XI (XO (XI (XI
+    XH))))))) :: [])))))))))))))), ((Zpos (XI (XO (XI (XO (XO (XI
+    XH))))))) :: ((Zpos (XO (XO (XO (XI (XI (XI XH))))))) :: ((Zpos (XI (XO
+    (XI (XO (XO (XI XH))))))) :: ((Zpos (XI (XI (XO (XO (XO (XI
+    XH))))))) :: ((Zpos (XI (XO (XI (XO (XI (XI XH))))))) :: ((Zpos (XO (XO
+    (XI (XO (XI (XI XH))))))) :: ((Zpos (XI (XO (XI (XO (XO (XI
+    XH))))))) :: ((Zpos (XI (XO (XI (XI (XO XH)))))) :: ((Zpos (XI (XI (XO
+    (XO (XI (XI XH))))))) :: ((Zpos (XI (XO (XO (XI (XO (XI
+    XH))))))) :: ((Zpos (XO (XO (XI (XI (XO (XI XH))))))) :: ((Zpos (XI (XO
+    (XI (XO (XO (XI XH))))))) :: ((Zpos (XO (XI (XI (XI (XO (XI
+    XH))))))) :: ((Zpos (XO (XO (XI (XO (XI (XI
+    XH))))))) :: []))))))))))))))) :: ((((Zpos (XI (XO (XI (XO (XO (XI
+    XH))))))) :: ((Zpos (XO (XO (XO (XI (XI (XI XH))))))) :: ((Zpos (XI (XO
+    (XI (XO (XO (XI XH))))))) :: ((Zpos (XI (XI (XO (XO (XO (XI
+    XH))))))) :: ((Zpos (XI (XO (XI (XO (XI (XI XH))))))) :: ((Zpos (XO (XO
+    (XI (XO (XI (XI XH))))))) :: ((Zpos (XI (XO (XI (XO (XO (XI
+    XH))))))) :: ((Zpos (XI (XO (XI (XI (XO XH)))))) :: ((Zpos (XI (XO (XI
+    (XI (XO (XI XH))))))) :: ((Zpos (XI (XO (XI (XO (XI (XI
+    XH))))))) :: ((Zpos (XO (XO (XI (XI (XO (XI XH))))))) :: ((Zpos (XO (XO
+    (XI (XO (XI (XI XH))))))) :: ((Zpos (XI (XO (XO (XI (XO (XI
+    XH))))))) :: []))))))))))))), ((Zpos (XI (XO (XI (XO (XO (XI
+    XH))))))) :: ((Zpos (XO (XO (XO (XI (XI (XI XH))))))) :: ((Zpos (XI (XO
+    (XI (XO (XO (XI XH))))))) :: ((Zpos (XI (XI (XO (XO (XO (XI
+    XH))))))) :: ((Zpos (XI (XO (XI (XO (XI (XI XH))))))) :: ((Zpos (XO (XO
+    (XI (XO (XI (XI XH))))))) :: ((Zpos (XI (XO (XI (XO (XO (XI
+    XH))))))) :: ((Zpos (XI (XO (XI (XI (XO XH)))))) :: ((Zpos (XI (XO (XI
+    (XI (XO (XI XH))))))) :: ((Zpos (XI (XO (XI (XO (XI (XI
+    XH))))))) :: ((Zpos (XO (XO (XI (XI (XO (XI XH))))))) :: ((Zpos (XO (XO
+    (XI (XO (XI (XI XH))))))) :: ((Zpos (XI (XO (XO (XI (XO (XI
+    XH))))))) :: [])))))))))))))) :: ((((Zpos (XO (XO (XO (XO (XI (XI
+    XH))))))) :: ((Zpos (XO (XI (XO (XO (XI (XI XH))))))) :: ((Zpos (XI (XO
+    (XO (XI (XO (XI XH))))))) :: ((Zpos (XO (XI (XI (XI (XO (XI
+    XH))))))) :: ((Zpos (XO (XO (XI (XO (XI (XI XH))))))) :: []))))), ((Zpos
+    (XO (XO (XO (XO (XI (XI XH))))))) :: ((Zpos (XO (XI (XO (XO (XI (XI
+    XH))))))) :: ((Zpos (XI (XO (XO (XI (XO (XI XH))))))) :: ((Zpos (XO (XI
+    (XI (XI (XO (XI XH))))))) :: ((Zpos (XO (XO (XI (XO (XI (XI
+    XH))))))) :: [])))))) :: ((((Zpos (XO (XO (XO (XO (XI (XI
+    XH))))))) :: ((Zpos (XI (XO (XI (XO (XI (XI XH))))))) :: ((Zpos (XO (XO
+    (XI (XO (XI (XI XH))))))) :: []))), ((Zpos (XO (XO (XO (XO (XI (XI
+    XH))))))) :: ((Zpos (XI (XO (XI (XO (XI (XI XH))))))) :: ((Zpos (XO (XO
+    (XI (XO (XI (XI XH))))))) :: [])))) :: ((((Zpos (XO (XO (XI (XO (XI (XI
+    XH))))))) :: ((Zpos (XO (XI (XO (XO (XI (XI XH))))))) :: ((Zpos (XI (XO
+    (XO (XO (XO (XI XH))))))) :: ((Zpos (XO (XI (XI (XI (XO (XI
+    XH))))))) :: ((Zpos (XI (XI (XO (XO (XI (XI XH))))))) :: ((Zpos (XO (XI
+    (XI (XO (XO (XI XH))))))) :: ((Zpos (XI (XI (XI (XI (XO (XI
+    XH))))))) :: ((Zpos (XO (XI (XO (XO (XI (XI XH))))))) :: ((Zpos (XI (XO
+    (XI (XI (XO (XI XH))))))) :: []))))))))), ((Zpos (XO (XO (XI (XO (XI (XI
+    XH))))))) :: ((Zpos (XO (XI (XO (XO (XI (XI XH))))))) :: ((Zpos (XI (XO
+    (XO (XO (XO (XI XH))))))) :: ((Zpos (XO (XI (XI (XI (XO (XI
+    XH))))))) :: ((Zpos (XI (XI (XO (XO (XI (XI XH))))))) :: ((Zpos (XO (XI
+    (XI (XO (XO (XI XH))))))) :: ((Zpos (XI (XI (XI (XI (XO (XI
+    XH))))))) :: ((Zpos (XO (XI (XO (XO (XI (XI XH))))))) :: ((Zpos (XI (XO
+    (XI (XI (XO (XI XH))))))) :: [])))))))))) :: ((((Zpos (XO (XO (XI (XO (XI
+    (XI XH))))))) :: ((Zpos (XO (XI (XO (XO (XI (XI XH))))))) :: ((Zpos (XI
+    (XO (XO (XO (XO (XI XH))))))) :: ((Zpos (XO (XI (XI (XI (XO (XI
+    XH))))))) :: ((Zpos (XI (XI (XO (XO (XI (XI XH))))))) :: ((Zpos (XO (XI
+    (XI (XO (XO (XI XH))))))) :: ((Zpos (XI (XI (XI (XI (XO (XI
+    XH))))))) :: ((Zpos (XO (XI (XO (XO (XI (XI XH))))))) :: ((Zpos (XI (XO
+    (XI (XI (XO (XI XH))))))) :: ((Zpos (XI (XO (XI (XI (XO
+    XH)))))) :: ((Zpos (XO (XO (XI (XI (XO (XI XH))))))) :: ((Zpos (XI (XO
+    (XO (XI (XO (XI XH))))))) :: ((Zpos (XI (XI (XO (XO (XI (XI
+    XH))))))) :: ((Zpos (XO (XO (XI (XO (XI (XI XH))))))) :: ((Zpos (XI (XO
+    (XI (XI (XO XH)))))) :: ((Zpos (XO (XO (XI (XI (XO (XI
+    XH))))))) :: ((Zpos (XI (XO (XO (XO (XO (XI XH))))))) :: ((Zpos (XO (XI
+    (XO (XO (XO (XI XH))))))) :: ((Zpos (XI (XO (XI (XO (XO (XI
+    XH))))))) :: ((Zpos (XO (XO (XI (XI (XO (XI
+    XH))))))) :: [])))))))))))))))))))), ((Zpos (XO (XO (XI (XO (XI (XI
+    XH))))))) :: ((Zpos (XO (XI (XO (XO (XI (XI XH))))))) :: ((Zpos (XI (XO
+    (XO (XO (XO (XI XH))))))) :: ((Zpos (XO (XI (XI (XI (XO (XI
+    XH))))))) :: ((Zpos (XI (XI (XO (XO (XI (XI XH))))))) :: ((Zpos (XO (XI
+    (XI (XO (XO (XI XH))))))) :: ((Zpos (XI (XI (XI (XI (XO (XI
+    XH))))))) :: ((Zpos (XO (XI (XO (XO (XI (XI XH))))))) :: ((Zpos (XI (XO
+    (XI (XI (XO (XI XH))))))) :: ((Zpos (XI (XO (XI (XI (XO
+    XH)))))) :: ((Zpos (XO (XO (XI (XI (XO (XI XH))))))) :: ((Zpos (XI (XO
+    (XO (XI (XO (XI XH))))))) :: ((Zpos (XI (XI (XO (XO (XI (XI
+    XH))))))) :: ((Zpos (XO (XO (XI (XO (XI (XI XH))))))) :: ((Zpos (XI (XO
+    (XI (XI (XO XH)))))) :: ((Zpos (XO (XO (XI (XI (XO (XI
+    XH))))))) :: ((Zpos (XI (XO (XO (XO (XO (XI XH))))))) :: ((Zpos (XO (XI
+    (XO (XO (XO (XI XH))))))) :: ((Zpos (XI (XO (XI (XO (XO (XI
+    XH))))))) :: ((Zpos (XO (XO (XI (XI (XO (XI
+    XH))))))) :: []))))))))))))))))))))) :: ((((Zpos (XO (XO (XI (XO (XI (XI
+    XH))))))) :: ((Zpos (XO (XI (XO (XO (XI (XI XH))))))) :: ((Zpos (XI (XO
+    (XO (XO (XO (XI XH))))))) :: ((Zpos (XO (XI (XI (XI (XO (XI
+    XH))))))) :: ((Zpos (XI (XI (XO (XO (XI (XI XH))))))) :: ((Zpos (XO (XI
+    (XI (XO (XO (XI XH))))))) :: ((Zpos (XI (XI (XI (XI (XO (XI
+    XH))))))) :: ((Zpos (XO (XI (XO (XO (XI (XI XH))))))) :: ((Zpos (XI (XO
+    (XI (XI (XO (XI XH))))))) :: ((Zpos (XI (XO (XI (XI (XO
+    XH)))))) :: ((Zpos (XO (XI (XO (XO (XO (XI XH))))))) :: ((Zpos (XI (XI
+    (XI (XI (XO (XI XH))))))) :: ((Zpos (XO (XI (XO (XO (XI (XI
+    XH))))))) :: ((Zpos (XO (XO (XI (XO (XO (XI XH))))))) :: ((Zpos (XI (XO
+    (XI (XO (XO (XI XH))))))) :: ((Zpos (XO (XI (XO (XO (XI (XI
+    XH))))))) :: ((Zpos (XI (XO (XI (XI (XO XH)))))) :: ((Zpos (XO (XO (XI
+    (XI (XO (XI XH))))))) :: ((Zpos (XI (XO (XO (XO (XO (XI
+    XH))))))) :: ((Zpos (XO (XI (XO (XO (XO (XI XH))))))) :: ((Zpos (XI (XO
+    (XI (XO (XO (XI XH))))))) :: ((Zpos (XO (XO (XI (XI (XO (XI
+    XH))))))) :: [])))))))))))))))))))))), ((Zpos (XO (XO (XI (XO (XI (XI
+    XH))))))) :: ((Zpos (XO (XI (XO (XO (XI (XI XH))))))) :: ((Zpos (XI (XO
+    (XO (XO (XO (XI XH))))))) :: ((Zpos (XO (XI (XI (XI (XO (XI
+    XH))))))) :: ((Zpos (XI (XI (XO (XO (XI (XI XH))))))) :: ((Zpos (XO (XI
+    (XI (XO (XO (XI XH))))))) :: ((Zpos (XI (XI (XI (XI (XO (XI
+    XH))))))) :: ((Zpos (XO (XI (XO (XO (XI (XI XH))))))) :: ((Zpos (XI (XO
+    (XI (XI (XO (XI XH))))))) :: ((Zpos (XI (XO (XI (XI (XO
+    XH)))))) :: ((Zpos (XO (XI (XO (XO (XO (XI XH))))))) :: ((Zpos (XI (XI
+    (XI (XI (XO (XI XH))))))) :: ((Zpos (XO (XI (XO (XO (XI (XI
+    XH))))))) :: ((Zpos (XO (XO (XI (XO (XO (XI XH))))))) :: ((Zpos (XI (XO
+    (XI (XO (XO (XI XH))))))) :: ((Zpos (XO (XI (XO (XO (XI (XI
+    XH))))))) :: ((Zpos (XI (XO (XI (XI (XO XH)))))) :: ((Zpos (XO (XO (XI
+    (XI (XO (XI XH))))))) :: ((Zpos (XI (XO (XO (XO (XO (XI
+    XH))))))) :: ((Zpos (XO (XI (XO (XO (XO (XI XH))))))) :: ((Zpos (XI (XO
+    (XI (XO (XO (XI XH))))))) :: ((Zpos (XO (XO (XI (XI (XO (XI
+    XH))))))) :: []))))))))))))))))))))))) :: ((((Zpos (XO (XO (XI (XO (XI
+    (XI XH))))))) :: ((Zpos (XO (XI (XO (XO (XI (XI XH))))))) :: ((Zpos (XI
+    (XO (XO (XO (XO (XI XH))))))) :: ((Zpos (XO (XI (XI (XI (XO (XI
+    XH))))))) :: ((Zpos (XI (XI (XO (XO (XI (XI XH))))))) :: ((Zpos (XO (XI
+    (XI (XO (XO (XI XH))))))) :: ((Zpos (XI (XI (XI (XI (XO (XI
+    XH))))))) :: ((Zpos (XO (XI (XO (XO (XI (XI XH))))))) :: ((Zpos (XI (XO
+    (XI (XI (XO (XI XH))))))) :: ((Zpos (XI (XO (XI (XI (XO
+    XH)))))) :: ((Zpos (XO (XO (XO (XO (XI (XI XH))))))) :: ((Zpos (XO (XI
+    (XO (XO (XI (XI XH))))))) :: ((Zpos (XI (XO (XI (XO (XO (XI
+    XH))))))) :: ((Zpos (XO (XI (XI (XO (XI (XI XH))))))) :: ((Zpos (XI (XO
+    (XO (XI (XO (XI XH))))))) :: ((Zpos (XI (XO (XI (XO (XO (XI
+    XH))))))) :: ((Zpos (XI (XI (XI (XO (XI (XI XH))))))) :: ((Zpos (XI (XO
+    (XI (XI (XO XH)))))) :: ((Zpos (XO (XO (XI (XI (XO (XI
+    XH))))))) :: ((Zpos (XI (XO (XO (XO (XO (XI XH))))))) :: ((Zpos (XO (XI
+    (XO (XO (XO (XI XH))))))) :: ((Zpos (XI (XO (XI (XO (XO (XI
+    XH))))))) :: ((Zpos (XO (XO (XI (XI (XO (XI
+    XH))))))) :: []))))))))))))))))))))))), ((Zpos (XO (XO (XI (XO (XI (XI
+    XH))))))) :: ((Zpos (XO (XI (XO (XO (XI (XI XH))))))) :: ((Zpos (XI (XO
+    (XO (XO (XO (XI XH))))))) :: ((Zpos (XO (XI (XI (XI (XO (XI
+    XH))))))) :: ((Zpos (XI (XI (XO (XO (XI (XI XH))))))) :: ((Zpos (XO (XI
+    (XI (XO (XO (XI XH))))))) :: ((Zpos (XI (XI (XI (XI (XO (XI
+    XH))))))) :: ((Zpos (XO (XI (XO (XO (XI (XI XH))))))) :: ((Zpos (XI (XO
+    (XI (XI (XO (XI XH))))))) :: ((Zpos (XI (XO (XI (XI (XO
+    XH)))))) :: ((Zpos (XO (XO (XO (XO (XI (XI XH))))))) :: ((Zpos (XO (XI
+    (XO (XO (XI (XI XH))))))) :: ((Zpos (XI (XO (XI (XO (XO (XI
+    XH))))))) :: ((Zpos (XO (XI (XI (XO (XI (XI XH))))))) :: ((Zpos (XI (XO
+    (XO (XI (XO (XI XH))))))) :: ((Zpos (XI (XO (XI (XO (XO (XI
+    XH))))))) :: ((Zpos (XI (XI (XI (XO (XI (XI XH))))))) :: ((Zpos (XI (XO
+    (XI (XI (XO XH)))))) :: ((Zpos (XO (XO (XI (XI (XO (XI
+    XH))))))) :: ((Zpos (XI (XO (XO (XO (XO (XI XH))))))) :: ((Zpos (XO (XI
+    (XO (XO (XO (XI XH))))))) :: ((Zpos (XI (XO (XI (XO (XO (XI
+    XH))))))) :: ((Zpos (XO (XO (XI (XI (XO (XI
+    XH))))))) :: [])))))))))))))))))))))))) :: ((((Zpos (XO (XO (XI (XO (XI
+    (XI XH))))))) :: ((Zpos (XO (XI (XO (XO (XI (XI XH))))))) :: ((Zpos (XI
+    (XO (XO (XO (XO (XI XH))))))) :: ((Zpos (XO (XI (XI (XI (XO (XI
+    XH))))))) :: ((Zpos (XI (XI (XO (XO (XI (XI XH))))))) :: ((Zpos (XO (XI
+    (XI (XO (XO (XI XH))))))) :: ((Zpos (XI (XI (XI (XI (XO (XI
+    XH))))))) :: ((Zpos (XO (XI (XO (XO (XI (XI XH))))))) :: ((Zpos (XI (XO
+    (XI (XI (XO (XI XH))))))) :: ((Zpos (XI (XO (XI (XI (XO
+    XH)))))) :: ((Zpos (XI (XO (XO (XI (XO (XI XH))))))) :: ((Zpos (XO (XI
+    (XI (XI (XO (XI XH))))))) :: ((Zpos (XO (XO (XO (XO (XI (XI
+    XH))))))) :: ((Zpos (XI (XO (XI (XO (XI (XI XH))))))) :: ((Zpos (XO (XO
+    (XI (XO (XI (XI XH))))))) :: ((Zpos (XI (XO (XI (XI (XO
+    XH)))))) :: ((Zpos (XO (XO (XI (XI (XO (XI XH))))))) :: ((Zpos (XI (XO
+    (XO (XO (XO (XI XH))))))) :: ((Zpos (XO (XI (XO (XO (XO (XI
+    XH))))))) :: ((Zpos (XI (XO (XI (XO (XO (XI XH))))))) :: ((Zpos (XO (XO
+    (XI (XI (XO (XI XH))))))) :: []))))))))))))))))))))), ((Zpos (XO (XO (XI
+    (XO (XI (XI XH))))))) :: ((Zpos (XO (XI (XO (XO (XI (XI
+    XH))))))) :: ((Zpos (XI (XO (XO (XO (XO (XI XH))))))) :: ((Zpos (XO (XI
+    (XI (XI (XO (XI XH))))))) :: ((Zpos (XI (XI (XO (XO (XI (XI
+    XH))))))) :: ((Zpos (XO (XI (XI (XO (XO (XI XH))))))) :: ((Zpos (XI (XI
+    (XI (XI (XO (XI XH))))))) :: ((Zpos (XO (XI (XO (XO (XI (XI
+    XH))))))) :: ((Zpos (XI (XO (XI (XI (XO (XI XH))))))) :: ((Zpos (XI (XO
+    (XI (XI (XO XH)))))) :: ((Zpos (XI (XO (XO (XI (XO (XI
+    XH))))))) :: ((Zpos (XO (XI (XI (XI (XO (XI XH))))))) :: ((Zpos (XO (XO
+    (XO (XO (XI (XI XH))))))) :: ((Zpos (XI (XO (XI (XO (XI (XI
+    XH))))))) :: ((Zpos (XO (XO (XI (XO (XI (XI XH))))))) :: ((Zpos (XI (XO
+    (XI (XI (XO XH)))))) :: ((Zpos (XO (XO (XI (XI (XO (XI
+    XH))))))) :: ((Zpos (XI (XO (XO (XO (XO (XI XH))))))) :: ((Zpos (XO (XI
+    (XO (XO (XO (XI XH))))))) :: ((Zpos (XI (XO (XI (XO (XO (XI
+    XH))))))) :: ((Zpos (XO (XO (XI (XI (XO (XI
+    XH))))))) :: [])))))))))))))))))))))) :: ((((Zpos (XO (XO (XI (XO (XI (XI
+    XH))))))) :: ((Zpos (XO (XI (XO (XO (XI (XI XH))))))) :: ((Zpos (XI (XO
+    (XO (XO (XO (XI XH))))))) :: ((Zpos (XO (XI (XI (XI (XO (XI
+    XH))))))) :: ((Zpos (XI (XI (XO (XO (XI (XI XH))))))) :: ((Zpos (XO (XI
+    (XI (XO (XO (XI XH))))))) :: ((Zpos (XI (XI (XI (XI (XO (XI
+    XH))))))) :: ((Zpos (XO (XI (XO (XO (XI (XI XH))))))) :: ((Zpos (XI (XO
+    (XI (XI (XO (XI XH))))))) :: ((Zpos (XI (XO (XI (XI (XO
+    XH)))))) :: ((Zpos (XO (XO (XO (XI (XO (XI XH))))))) :: ((Zpos (XI (XO
+    (XI (XO (XO (XI XH))))))) :: ((Zpos (XI (XO (XO (XO (XO (XI
+    XH))))))) :: ((Zpos (XO (XO (XI (XO (XO (XI XH))))))) :: ((Zpos (XI (XO
+    (XI (XO (XO (XI XH))))))) :: ((Zpos (XO (XI (XO (XO (XI (XI
+    XH))))))) :: ((Zpos (XI (XO (XI (XI (XO XH)))))) :: ((Zpos (XO (XO (XI
+    (XI (XO (XI XH))))))) :: ((Zpos (XI (XO (XO (XO (XO (XI
+    XH))))))) :: ((Zpos (XO (XI (XO (XO (XO (XI XH))))))) :: ((Zpos (XI (XO
+    (XI (XO (XO (XI XH))))))) :: ((Zpos (XO (XO (XI (XI (XO (XI
+    XH))))))) :: [])))))))))))))))))))))), ((Zpos (XO (XO (XI (XO (XI (XI
+    XH))))))) :: ((Zpos (XO (XI (XO (XO (XI (XI XH))))))) :: ((Zpos (XI (XO
+    (XO (XO (XO (XI XH))))))) :: ((Zpos (XO (XI (XI (XI (XO (XI
+    XH))))))) :: ((Zpos (XI (XI (XO (XO (XI (XI XH))))))) :: ((Zpos (XO (XI
+    (XI (XO (XO (XI XH))))))) :: ((Zpos (XI (XI (XI (XI (XO (XI
+    XH))))))) :: ((Zpos (XO (XI (XO (XO (XI (XI XH))))))) :: ((Zpos (XI (XO
+    (XI (XI (XO (XI XH))))))) :: ((Zpos (XI (XO (XI (XI (XO
+    XH)))))) :: ((Zpos (XO (XO (XO (XI (XO (XI XH))))))) :: ((Zpos (XI (XO
+    (XI (XO (XO (XI XH))))))) :: ((Zpos (XI (XO (XO (XO (XO (XI
+    XH))))))) :: ((Zpos (XO (XO (XI (XO (XO (XI XH))))))) :: ((Zpos (XI (XO
+    (XI (XO (XO (XI XH))))))) :: ((Zpos (XO (XI (XO (XO (XI (XI
+    XH))))))) :: ((Zpos (XI (XO (XI (XI (XO XH)))))) :: ((Zpos (XO (XO (XI
+    (XI (XO (XI XH))))))) :: ((Zpos (XI (XO (XO (XO (XO (XI
+    XH))))))) :: ((Zpos (XO (XI (XO (XO (XO (XI XH))))))) :: ((Zpos (XI (XO
+    (XI (XO (XO (XI XH))))))) :: ((Zpos (XO (XO (XI (XI (XO (XI
+    XH))))))) :: []))))))))))))))))))))))) :: ((((Zpos (XO (XO (XI (XO (XI
+    (XI XH))))))) :: ((Zpos (XO (XI (XO (XO (XI (XI XH))))))) :: ((Zpos (XI
+    (XO (XO (XO (XO (XI XH))))))) :: ((Zpos (XO (XI (XI (XI (XO (XI
+    XH))))))) :: ((Zpos (XI (XI (XO (XO (XI (XI XH))))))) :: ((Zpos (XO (XI
+    (XI (XO (XO (XI XH))))))) :: ((Zpos (XI (XI (XI (XI (XO (XI
+    XH))))))) :: ((Zpos (XO (XI (XO (XO (XI (XI XH))))))) :: ((Zpos (XI (XO
+    (XI (XI (XO (XI XH))))))) :: ((Zpos (XI (XO (XI (XI (XO
+    XH)))))) :: ((Zpos (XO (XO (XO (XI (XO (XI XH))))))) :: ((Zpos (XI (XO
+    (XI (XO (XO (XI XH))))))) :: ((Zpos (XI (XO (XO (XO (XO (XI
+    XH))))))) :: ((Zpos (XO (XO (XI (XO (XO (XI XH))))))) :: ((Zpos (XI (XO
+    (XI (XO (XO (XI XH))))))) :: ((Zpos (XO (XI (XO (XO (XI (XI
+    XH))))))) :: [])))))))))))))))), ((Zpos (XO (XO (XI (XO (XI (XI
+    XH))))))) :: ((Zpos (XO (XI (XO (XO (XI (XI XH))))))) :: ((Zpos (XI (XO
+    (XO (XO (XO (XI XH))))))) :: ((Zpos (XO (XI (XI (XI (XO (XI
+    XH))))))) :: ((Zpos (XI (XI (XO (XO (XI (XI XH))))))) :: ((Zpos (XO (XI
+    (XI (XO (XO (XI XH))))))) :: ((Zpos (XI (XI (XI (XI (XO (XI
+    XH))))))) :: ((Zpos (XO (XI (XO (XO (XI (XI XH))))))) :: ((Zpos (XI (XO
+    (XI (XI (XO (XI XH))))))) :: ((Zpos (XI (XO (XI (XI (XO
+    XH)))))) :: ((Zpos (XO (XO (XO (XI (XO (XI XH))))))) :: ((Zpos (XI (XO
+    (XI (XO (XO (XI XH))))))) :: ((Zpos (XI (XO (XO (XO (XO (XI
+    XH))))))) :: ((Zpos (XO (XO (XI (XO (XO (XI XH))))))) :: ((Zpos (XI (XO
+    (XI (XO (XO (XI XH))))))) :: ((Zpos (XO (XI (XO (XO (XI (XI
+    XH))))))) :: []))))))))))))))))) :: ((((Zpos (XO (XO (XI (XO (XI (XI
+    XH))))))) :: ((Zpos (XO (XI (XO (XO (XI (XI XH))))))) :: ((Zpos (XI (XO
+    (XO (XO (XO (XI XH))))))) :: ((Zpos (XO (XI (XI (XI (XO (XI
+    XH))))))) :: ((Zpos (XI (XI (XO (XO (XI (XI XH))))))) :: ((Zpos (XO (XI
+    (XI (XO (XO (XI XH))))))) :: ((Zpos (XI (XI (XI (XI (XO (XI
+    XH))))))) :: ((Zpos (XO (XI (XO (XO (XI (XI XH))))))) :: ((Zpos (XI (XO
+    (XI (XI (XO (XI XH))))))) :: ((Zpos (XI (XO (XI (XI (XO
+    XH)))))) :: ((Zpos (XI (XI (XI (XO (XO (XI XH))))))) :: ((Zpos (XO (XO
+    (XO (XI (XO (XI XH))))))) :: ((Zpos (XI (XI (XI (XI (XO (XI
+    XH))))))) :: ((Zpos (XI (XI (XO (XO (XI (XI XH))))))) :: ((Zpos (XO (XO
+    (XI (XO (XI (XI XH))))))) :: []))))))))))))))), ((Zpos (XO (XO (XI (XO
+    (XI (XI XH))))))) :: ((Zpos (XO (XI (XO (XO (XI (XI XH))))))) :: ((Zpos
+    (XI (XO (XO (XO (XO (XI XH))))))) :: ((Zpos (XO (XI (XI (XI (XO (XI
+    XH))))))) :: ((Zpos (XI (XI (XO (XO (XI (XI XH))))))) :: ((Zpos (XO (XI
+    (XI (XO (XO (XI XH))))))) :: ((Zpos (XI (XI (XI (XI (XO (XI
+    XH))))))) :: ((Zpos (XO (XI (XO (XO (XI (XI XH))))))) :: ((Zpos (XI (XO
+    (XI (XI (XO (XI XH))))))) :: ((Zpos (XI (XO (XI (XI (XO
+    XH)))))) :: ((Zpos (XI (XI (XI (XO (XO (XI XH))))))) :: ((Zpos (XO (XO
+    (XO (XI (XO (XI XH))))))) :: ((Zpos (XI (XI (XI (XI (XO (XI
+    XH))))))) :: ((Zpos (XI (XI (XO (XO (XI (XI XH))))))) :: ((Zpos (XO (XO
+    (XI (XO (XI (XI XH))))))) :: [])))))))))))))))) :: ((((Zpos (XO (XO (XI
+    (XO (XI (XI XH))))))) :: ((Zpos (XO (XI (XO (XO (XI (XI
+    XH))))))) :: ((Zpos (XI (XO (XO (XO (XO (XI XH))))))) :: ((Zpos (XO (XI
+    (XI (XI (XO (XI XH))))))) :: ((Zpos (XI (XI (XO (XO (XI (XI
+    XH))))))) :: ((Zpos (XO (XI (XI (XO (XO (XI XH))))))) :: ((Zpos (XI (XI
+    (XI (XI (XO (XI XH))))))) :: ((Zpos (XO (XI (XO (XO (XI (XI
+    XH))))))) :: ((Zpos (XI (XO (XI (XI (XO (XI XH))))))) :: ((Zpos (XI (XO
+    (XI (XI (XO XH)))))) :: ((Zpos (XO (XI (XI (XI (XO (XI
+    XH))))))) :: ((Zpos (XO (XO (XI (XO (XI (XI XH))))))) :: ((Zpos (XO (XO
+    (XO (XI (XO (XI XH))))))) :: []))))))))))))), ((Zpos (XO (XO (XI (XO (XI
+    (XI XH))))))) :: ((Zpos (XO (XI (XO (XO (XI (XI XH))))))) :: ((Zpos (XI
+    (XO (XO (XO (XO (XI XH))))))) :: ((Zpos (XO (XI (XI (XI (XO (XI
+    XH))))))) :: ((Zpos (XI (XI (XO (XO (XI (XI XH))))))) :: ((Zpos (XO (XI
+    (XI (XO (XO (XI XH))))))) :: ((Zpos (XI (XI (XI (XI (XO (XI
+    XH))))))) :: ((Zpos (XO (XI (XO (XO (XI (XI XH))))))) :: ((Zpos (XI (XO
+    (XI (XI (XO (XI XH))))))) :: ((Zpos (XI (XO (XI (XI (XO
+    XH)))))) :: ((Zpos (XO (XI (XI (XI (XO (XI XH))))))) :: ((Zpos (XO (XO
+    (XI (XO (XI (XI XH))))))) :: ((Zpos (XO (XO (XO (XI (XO (XI
+    XH))))))) :: [])))))))))))))) :: ((((Zpos (XO (XO (XI (XO (XI (XI
+    XH))))))) :: ((Zpos (XO (XI (XO (XO (XI (XI XH))))))) :: ((Zpos (XI (XO
+    (XO (XO (XO (XI XH))))))) :: ((Zpos (XO (XI (XI (XI (XO (XI
+    XH))))))) :: ((Zpos (XI (XI (XO (XO (XI (XI XH))))))) :: ((Zpos (XO (XI
+    (XI (XO (XO (XI XH))))))) :: ((Zpos (XI (XI (XI (XI (XO (XI
+    XH))))))) :: ((Zpos (XO (XI (XO (XO (XI (XI XH))))))) :: ((Zpos (XI (XO
+    (XI (XI (XO (XI XH))))))) :: ((Zpos (XI (XO (XI (XI (XO
+    XH)))))) :: ((Zpos (XO (XO (XO (XO (XI (XI XH))))))) :: ((Zpos (XI (XI
+    (XI (XI (XO (XI XH))))))) :: ((Zpos (XI (XO (XO (XI (XO (XI
+    XH))))))) :: ((Zpos (XO (XI (XI (XI (XO (XI XH))))))) :: ((Zpos (XO (XO
+    (XI (XO (XI (XI XH))))))) :: ((Zpos (XI (XO (XI (XO (XO (XI
+    XH))))))) :: ((Zpos (XO (XI (XO (XO (XI (XI
+    XH))))))) :: []))))))))))))))))), ((Zpos (XO (XO (XI (XO (XI (XI
+    XH))))))) :: ((Zpos (XO (XI (XO (XO (XI (XI XH))))))) :: ((Zpos (XI (XO
+    (XO (XO (XO (XI XH))))))) :: ((Zpos (XO (XI (XI (XI (XO (XI
+    XH))))))) :: ((Zpos (XI (XI (XO (XO (XI (XI XH))))))) :: ((Zpos (XO (XI
+    (XI (XO (XO (XI XH))))))) :: ((Zpos (XI (XI (XI (XI (XO (XI
+    XH))))))) :: ((Zpos (XO (XI (XO (XO (XI (XI XH))))))) :: ((Zpos (XI (XO
+    (XI (XI (XO (XI XH))))))) :: ((Zpos (XI (XO (XI (XI (XO
+    XH)))))) :: ((Zpos (XO (XO (XO (XO (XI (XI XH))))))) :: ((Zpos (XI (XI
+    (XI (XI (XO (XI XH))))))) :: ((Zpos (XI (XO (XO (XI (XO (XI
+    XH))))))) :: ((Zpos (XO (XI (XI (XI (XO (XI XH))))))) :: ((Zpos (XO (XO
+    (XI (XO (XI (XI XH))))))) :: ((Zpos (XI (XO (XI (XO (XO (XI
+    XH))))))) :: ((Zpos (XO (XI (XO (XO (XI (XI
+    XH))))))) :: [])))))))))))))))))) :: ((((Zpos (XO (XO (XI (XO (XI (XI
+    XH))))))) :: ((Zpos (XO (XI (XO (XO (XI (XI XH))))))) :: ((Zpos (XI (XO
+    (XO (XO (XO (XI XH))))))) :: ((Zpos (XO (XI (XI (XI (XO (XI
+    XH))))))) :: ((Zpos (XI (XI (XO (XO (XI (XI XH))))))) :: ((Zpos (XO (XI
+    (XI (XO (XO (XI XH))))))) :: ((Zpos (XI (XI (XI (XI (XO (XI
+    XH))))))) :: ((Zpos (XO (XI (XO (XO (XI (XI XH))))))) :: ((Zpos (XI (XO
+    (XI (XI (XO (XI XH))))))) :: ((Zpos (XI (XO (XI (XI (XO
+    XH)))))) :: ((Zpos (XO (XO (XO (XO (XI (XI XH))))))) :: ((Zpos (XO (XI
+    (XO (XO (XI (XI XH))))))) :: ((Zpos (XI (XI (XI (XI (XO (XI
+    XH))))))) :: ((Zpos (XI (XO (XI (XI (XO (XI XH))))))) :: ((Zpos (XO (XO
+    (XO (XO (XI (XI XH))))))) :: ((Zpos (XO (XO (XI (XO (XI (XI
+    XH))))))) :: [])))))))))))))))), ((Zpos (XO (XO (XI (XO (XI (XI
+    XH))))))) :: ((Zpos (XO (XI (XO (XO (XI (XI XH))))))) :: ((Zpos (XI (XO
+    (XO (XO (XO (XI XH))))))) :: ((Zpos (XO (XI (XI (XI (XO (XI
+    XH))))))) :: ((Zpos (XI (XI (XO (XO (XI (XI XH))))))) :: ((Zpos (XO (XI
+    (XI (XO (XO (XI XH))))))) :: ((Zpos (XI (XI (XI (XI (XO (XI
+    XH))))))) :: ((Zpos (XO (XI (XO (XO (XI (XI XH))))))) :: ((Zpos (XI (XO
+    (XI (XI (XO (XI XH))))))) :: ((Zpos (XI (XO (XI (XI (XO
+    XH)))))) :: ((Zpos (XO (XO (XO (XO (XI (XI XH))))))) :: ((Zpos (XO (XI
+    (XO (XO (XI (XI XH))))))) :: ((Zpos (XI (XI (XI (XI (XO (XI
+    XH))))))) :: ((Zpos (XI (XO (XI (XI (XO (XI XH))))))) :: ((Zpos (XO (XO
+    (XO (XO (XI (XI XH))))))) :: ((Zpos (XO (XO (XI (XO (XI (XI
+    XH))))))) :: []))))))))))))))))) :: ((((Zpos (XO (XO (XI (XO (XI (XI
+    XH))))))) :: ((Zpos (XO (XI (XO (XO (XI (XI XH))))))) :: ((Zpos (XI (XO
+    (XO (XO (XO (XI XH))))))) :: ((Zpos (XO (XI (XI (XI (XO (XI
+    XH))))))) :: ((Zpos (XI (XI (XO (XO (XI (XI XH))))))) :: ((Zpos (XO (XI
+    (XI (XO (XO (XI XH))))))) :: ((Zpos (XI (XI (XI (XI (XO (XI
+    XH))))))) :: ((Zpos (XO (XI (XO (XO (XI (XI XH))))))) :: ((Zpos (XI (XO
+    (XI (XI (XO (XI XH))))))) :: ((Zpos (XI (XO (XI (XI (XO
+    XH)))))) :: ((Zpos (XI (XO (XO (XO (XI (XI XH))))))) :: ((Zpos (XI (XO
+    (XI (XO (XI (XI XH))))))) :: ((Zpos (XI (XO (XI (XO (XO (XI
+    XH))))))) :: ((Zpos (XO (XI (XO (XO (XI (XI XH))))))) :: ((Zpos (XI (XO
+    (XO (XI (XI (XI XH))))))) :: []))))))))))))))), ((Zpos (XO (XO (XI (XO
+    (XI (XI XH))))))) :: ((Zpos (XO (XI (XO (XO (XI (XI XH))))))) :: ((Zpos
+    (XI (XO (XO (XO (XO (XI XH))))))) :: ((Zpos (XO (XI (XI (XI (XO (XI
+    XH))))))) :: ((Zpos (XI (XI (XO (XO (XI (XI XH))))))) :: ((Zpos (XO (XI
+    (XI (XO (XO (XI XH))))))) :: ((Zpos (XI (XI (XI (XI (XO (XI
+    XH))))))) :: ((Zpos (XO (XI (XO (XO (XI (XI XH))))))) :: ((Zpos (XI (XO
+    (XI (XI (XO (XI XH))))))) :: ((Zpos (XI (XO (XI (XI (XO
+    XH)))))) :: ((Zpos (XI (XO (XO (XO (XI (XI XH))))))) :: ((Zpos (XI (XO
+    (XI (XO (XI (XI XH))))))) :: ((Zpos (XI (XO (XI (XO (XO (XI
+    XH))))))) :: ((Zpos (XO (XI (XO (XO (XI (XI XH))))))) :: ((Zpos (XI (XO
+    (XO (XI (XI (XI XH))))))) :: [])))))))))))))))) :: ((((Zpos (XO (XO (XI
+    (XO (XI (XI XH))))))) :: ((Zpos (XO (XI (XO (XO (XI (XI
+    XH))))))) :: ((Zpos (XI (XO (XO (XO (XO (XI XH))))))) :: ((Zpos (XO (XI
+    (XI (XI (XO (XI XH))))))) :: ((Zpos (XI (XI (XO (XO (XI (XI
+    XH))))))) :: ((Zpos (XO (XI (XI (XO (XO (XI XH))))))) :: ((Zpos (XI (XI
+    (XI (XI (XO (XI XH))))))) :: ((Zpos (XO (XI (XO (XO (XI (XI
+    XH))))))) :: ((Zpos (XI (XO (XI (XI (XO (XI XH))))))) :: ((Zpos (XI (XO
+    (XI (XI (XO XH)))))) :: ((Zpos (XI (XI (XO (XO (XI (XI
+    XH))))))) :: ((Zpos (XI (XO (XI (XO (XO (XI XH))))))) :: ((Zpos (XI (XO
+    (XO (XO (XO (XI XH))))))) :: ((Zpos (XO (XI (XO (XO (XI (XI
+    XH))))))) :: ((Zpos (XI (XI (XO (XO (XO (XI XH))))))) :: ((Zpos (XO (XO
+    (XO (XI (XO (XI XH))))))) :: [])))))))))))))))), ((Zpos (XO (XO (XI (XO
+    (XI (XI XH))))))) :: ((Zpos (XO (XI (XO (XO (XI (XI XH))))))) :: ((Zpos
+    (XI (XO (XO (XO (XO (XI XH))))))) :: ((Zpos (XO (XI (XI (XI (XO (XI
+    XH))))))) :: ((Zpos (XI (XI (XO (XO (XI (XI XH))))))) :: ((Zpos (XO (XI
+    (XI (XO (XO (XI XH))))))) :: ((Zpos (XI (XI (XI (XI (XO (XI
+    XH))))))) :: ((Zpos (XO (XI (XO (XO (XI (XI XH))))))) :: ((Zpos (XI (XO
+    (XI (XI (XO (XI XH))))))) :: ((Zpos (XI (XO (XI (XI (XO
+    XH)))))) :: ((Zpos (XI (XI (XO (XO (XI (XI XH))))))) :: ((Zpos (XI (XO
+    (XI (XO (XO (XI XH))))))) :: ((Zpos (XI (XO (XO (XO (XO (XI
+    XH))))))) :: ((Zpos (XO (XI (XO (XO (XI (XI XH))))))) :: ((Zpos (XI (XI
+    (XO (XO (XO (XI XH))))))) :: ((Zpos (XO (XO (XO (XI (XO (XI
+    XH))))))) :: []))))))))))))))))) :: ((((Zpos (XI (XI (XO (XO (XI (XI
+    XH))))))) :: ((Zpos (XI (XO (XI (XO (XO (XI XH))))))) :: ((Zpos (XI (XO
+    (XO (XO (XO (XI XH))))))) :: ((Zpos (XO (XI (XO (XO (XI (XI
+    XH))))))) :: ((Zpos (XI (XI (XO (XO (XO (XI XH))))))) :: ((Zpos (XO (XO
+    (XO (XI (XO (XI XH))))))) :: [])))))), ((Zpos (XI (XI (XO (XO (XI (XI
+    XH))))))) :: ((Zpos (XI (XO (XI (XO (XO (XI XH))))))) :: ((Zpos (XI (XO
+    (XO (XO (XO (XI XH))))))) :: ((Zpos (XO (XI (XO (XO (XI (XI
+    XH))))))) :: ((Zpos (XI (XI (XO (XO (XO (XI XH))))))) :: ((Zpos (XO (XO
+    (XO (XI (XO (XI
+    XH))))))) :: []))))))) :: []))))))))))))))))))))))))))))))))))))))))
+
+(** val checked_arg_actions : str list **)
+
+let checked_arg_actions =
+  ((Zpos (XI (XO (XI (XO (XI (XI XH))))))) :: ((Zpos (XO (XI (XI (XI (XO (XI
+    XH))))))) :: ((Zpos (XO (XI (XO (XO (XO (XI XH))))))) :: ((Zpos (XI (XO
+    (XO (XI (XO (XI XH))))))) :: ((Zpos (XO (XI (XI (XI (XO (XI
+    XH))))))) :: ((Zpos (XO (XO (XI (XO (XO (XI
+    XH))))))) :: [])))))) :: (((Zpos (XO (XI (XO (XO (XI (XI
+    XH))))))) :: ((Zpos (XI (XO (XI (XO (XO (XI XH))))))) :: ((Zpos (XO (XI
+    (XO (XO (XO (XI XH))))))) :: ((Zpos (XI (XO (XO (XI (XO (XI
+    XH))))))) :: ((Zpos (XO (XI (XI (XI (XO (XI XH))))))) :: ((Zpos (XO (XO
+    (XI (XO (XO (XI XH))))))) :: [])))))) :: (((Zpos (XO (XO (XI (XO (XI (XI
+    XH))))))) :: ((Zpos (XI (XI (XI (XI (XO (XI XH))))))) :: ((Zpos (XI (XI
+    (XI (XO (XO (XI XH))))))) :: ((Zpos (XI (XI (XI (XO (XO (XI
+    XH))))))) :: ((Zpos (XO (XO (XI (XI (XO (XI XH))))))) :: ((Zpos (XI (XO
+    (XI (XO (XO (XI XH))))))) :: ((Zpos (XI (XO (XI (XI (XO
+    XH)))))) :: ((Zpos (XO (XI (XO (XO (XO (XI XH))))))) :: ((Zpos (XI (XO
+    (XO (XI (XO (XI XH))))))) :: ((Zpos (XO (XI (XI (XI (XO (XI
+    XH))))))) :: ((Zpos (XO (XO (XI (XO (XO (XI
+    XH))))))) :: []))))))))))) :: (((Zpos (XI (XI (XO (XO (XO (XI
+    XH))))))) :: ((Zpos (XO (XO (XO (XI (XO (XI XH))))))) :: ((Zpos (XI (XO
+    (XO (XO (XO (XI XH))))))) :: ((Zpos (XO (XI (XI (XI (XO (XI
+    XH))))))) :: ((Zpos (XI (XI (XI (XO (XO (XI XH))))))) :: ((Zpos (XI (XO
+    (XI (XO (XO (XI XH))))))) :: ((Zpos (XI (XO (XI (XI (XO
+    XH)))))) :: ((Zpos (XO (XO (XO (XO (XI (XI XH))))))) :: ((Zpos (XO (XI
+    (XO (XO (XI (XI XH))))))) :: ((Zpos (XI (XO (XI (XO (XO (XI
+    XH))))))) :: ((Zpos (XO (XI (XI (XO (XI (XI XH))))))) :: ((Zpos (XI (XO
+    (XO (XI (XO (XI XH))))))) :: ((Zpos (XI (XO (XI (XO (XO (XI
+    XH))))))) :: ((Zpos (XI (XI (XI (XO (XI (XI XH))))))) :: ((Zpos (XI (XO
+    (XI (XI (XO XH)))))) :: ((Zpos (XI (XI (XI (XO (XI (XI
+    XH))))))) :: ((Zpos (XI (XO (XO (XI (XO (XI XH))))))) :: ((Zpos (XO (XI
+    (XI (XI (XO (XI XH))))))) :: ((Zpos (XO (XO (XI (XO (XO (XI
+    XH))))))) :: ((Zpos (XI (XI (XI (XI (XO (XI XH))))))) :: ((Zpos (XI (XI
+    (XI (XO (XI (XI XH))))))) :: []))))))))))))))))))))) :: [])))
+
+(** val mem_str : str -> str list -> bool **)
+
+let rec mem_str s = function
+| [] -> false
+| x :: r -> (||) (str_eqb s x) (mem_str s r)
+
+type aform =
+| FPair of z * z
+| FColon
+
+(** val closer_of : z -> z option **)
+
+let closer_of c =
+  if Z.eqb c (Zpos (XO (XO (XO (XI (XO XH))))))
+  then Some (Zpos (XI (XO (XO (XI (XO XH))))))
+  else if Z.eqb c (Zpos (XI (XI (XO (XI (XI (XI XH)))))))
+       then Some (Zpos (XI (XO (XI (XI (XI (XI XH)))))))
+       else if Z.eqb c (Zpos (XI (XI (XO (XI (XI (XO XH)))))))
+            then Some (Zpos (XI (XO (XI (XI (XI (XO XH)))))))
+            else if Z.eqb c (Zpos (XO (XO (XI (XI (XI XH))))))
+                 then Some (Zpos (XO (XI (XI (XI (XI XH))))))
+                 else if (||)
+                           ((||)
+                             ((||)
+                               ((||)
+                                 ((||)
+                                   ((||)
+                                     ((||)
+                                       ((||)
+                                         ((||)
+                                           ((||)
+                                             ((||)
+                                               (Z.eqb c (Zpos (XO (XI (XI (XI
+                                                 (XI (XI XH))))))))
+                                               (Z.eqb c (Zpos (XI (XO (XO (XO
+                                                 (XO XH))))))))
+                                             (Z.eqb c (Zpos (XO (XO (XO (XO
+                                               (XO (XO XH)))))))))
+                                           (Z.eqb c (Zpos (XI (XI (XO (XO (XO
+                                             XH))))))))
+                                         (Z.eqb c (Zpos (XO (XO (XI (XO (XO
+                                           XH))))))))
+                                       (Z.eqb c (Zpos (XI (XO (XI (XO (XO
+                                         XH))))))))
+                                     (Z.eqb c (Zpos (XO (XI (XI (XI (XI (XO
+                                       XH)))))))))
+                                   (Z.eqb c (Zpos (XO (XI (XI (XO (XO
+                                     XH))))))))
+                                 (Z.eqb c (Zpos (XO (XI (XO (XI (XO XH))))))))
+                               (Z.eqb c (Zpos (XI (XI (XO (XI (XI XH))))))))
+                             (Z.eqb c (Zpos (XI (XI (XI (XI (XO XH))))))))
+                           (Z.eqb c (Zpos (XO (XO (XI (XI (XI (XI XH))))))))
+                      then Some c
+                      else None
+
+(** val form_ok : aform -> bool **)
+
+let form_ok = function
+| FPair (o, c) ->
+  (match closer_of o with
+   | Some c' -> Z.eqb c c'
+   | None -> false)
+| FColon -> true
+
+type act =
+| ASimple of str
+| AArg of str * aform * str
+
+type bpair = str list * act list
+
+type bind0 = bpair list
+
+(** val join : z -> str list -> str **)
+
+let rec join sep = function
+| [] -> []
+| x :: r -> (match r with
+             | [] -> x
+             | _ :: _ -> app x (sep :: (join sep r)))
+
+(** val render_act : act -> str **)
+
+let render_act = function
+| ASimple n -> n
+| AArg (n, f, arg0) ->
+  (match f with
+   | FPair (o, c) -> app n (o :: (app arg0 (c :: [])))
+   | FColon -> app n (cOLON :: arg0))
+
+(** val render_pair : bpair -> str **)
+
+let render_pair p =
+  app (join cOMMA (fst p)) (cOLON :: (join pLUS (map render_act (snd p))))
+
+(** val render : bind0 -> str **)
+
+let render bd =
+  join cOMMA (map render_pair bd)
+
+(** val arg_free : z -> str -> bool **)
+
+let rec arg_free c = function
+| [] -> true
+| x :: r ->
+  (&&)
+    (negb
+      ((&&) (Z.eqb x c)
+        (match r with
+         | [] -> false
+         | y :: _ -> (||) (Z.eqb y pLUS) (Z.eqb y cOMMA)))) (arg_free c r)
+
+(** val key_spelling_ok : str -> bool **)
+
+let key_spelling_ok k =
+  (&&) ((&&) (nonemptyb k) (forallb (fun c -> negb (is_sep c)) k))
+    (match key_of_token k with
+     | Some _ -> true
+     | None -> false)
+
+(** val act_ok : bool -> act -> bool **)
+
+let act_ok last0 = function
+| ASimple n ->
+  (match assoc_str n simple_actions with
+   | Some _ -> true
+   | None -> false)
+| AArg (n, f, arg0) ->
+  (&&)
+    ((&&)
+      ((&&)
+        (match assoc_str n arg_actions with
+         | Some _ -> true
+         | None -> false) (negb (mem_str n checked_arg_actions))) (form_ok f))
+    (match f with
+     | FPair (_, c) -> arg_free c arg0
+     | FColon -> last0)
+
+(** val acts_ok : bool -> act list -> bool **)
+
+let rec acts_ok last0 = function
+| [] -> true
+| a :: r ->
+  (match r with
+   | [] -> act_ok last0 a
+   | _ :: _ -> (&&) (act_ok false a) (acts_ok last0 r))
+
+(** val pair_ok : bool -> bpair -> bool **)
+
+let pair_ok last0 p =
+  (&&)
+    ((&&) ((&&) (nonemptyb (fst p)) (forallb key_spelling_ok (fst p)))
+      (nonemptyb (snd p))) (acts_ok last0 (snd p))
+
+(** val wf_bind : bind0 -> bool **)
+
+let rec wf_bind = function
+| [] -> false
+| p :: r ->
+  (match r with
+   | [] -> pair_ok true p
+   | _ :: _ -> (&&) (pair_ok false p) (wf_bind r))
+
+type keymap = (key * action list) list
+
+(** val km_get : keymap -> key -> action list **)
+
+let rec km_get m k =
+  match m with
+  | [] -> []
+  | p :: r -> let (k', v) = p in if key_eqb k k' then v else km_get r k
+
+(** val km_set : keymap -> key -> action list -> keymap **)
+
+let rec km_set m k v =
+  match m with
+  | [] -> (k, v) :: []
+  | p :: r ->
+    let (k', v') = p in
+    if key_eqb k k' then (k', v) :: r else (k', v') :: (km_set r k v)
+
+(** val act_denote : act -> action list **)
+
+let act_denote = function
+| ASimple n ->
+  (match assoc_str n simple_actions with
+   | Some cs -> map (fun c -> (c, [])) cs
+   | None -> [])
+| AArg (n, _, arg0) ->
+  (match assoc_str n arg_actions with
+   | Some c -> (c, arg0) :: []
+   | None -> [])
+
+(** val acts_denote : act list -> action list **)
+
+let acts_denote l =
+  flat_map act_denote l
+
+(** val key_denote : str -> key **)
+
+let key_denote k =
+  match key_of_token k with
+  | Some x -> x
+  | None -> KRune Z0
+
+(** val pair_denote : keymap -> bpair -> keymap **)
+
+let pair_denote m p =
+  fold_left (fun m0 k -> km_set m0 (key_denote k) (acts_denote (snd p)))
+    (fst p) m
+
+(** val denote : keymap -> bind0 -> keymap **)
+
+let denote m bd =
+  fold_left pair_denote bd m
+
+type 'a outcome =
+| Good of 'a
+| Bad of z
+
+(** val e_KEY_REQUIRED : z **)
+
+let e_KEY_REQUIRED =
+  Zpos XH
+
+(** val e_UNSUPPORTED_KEY : z **)
+
+let e_UNSUPPORTED_KEY =
+  Zpos (XO XH)
+
+(** val e_UNKNOWN_ACTION : z **)
+
+let e_UNKNOWN_ACTION =
+  Zpos (XI XH)
+
+(** val e_PUT : z **)
+
+let e_PUT =
+  Zpos (XO (XO XH))
+
+(** val e_NO_ACTION : z **)
+
+let e_NO_ACTION =
+  Zpos (XI (XO XH))
+
+(** val exec_names : str list **)
+
+let exec_names =
+  ((Zpos (XO (XI (XO (XO (XO (XI XH))))))) :: ((Zpos (XI (XO (XI (XO (XO (XI
+    XH))))))) :: ((Zpos (XI (XI (XO (XO (XO (XI XH))))))) :: ((Zpos (XI (XI
+    (XI (XI (XO (XI XH))))))) :: ((Zpos (XI (XO (XI (XI (XO (XI
+    XH))))))) :: ((Zpos (XI (XO (XI (XO (XO (XI
+    XH))))))) :: [])))))) :: (((Zpos (XI (XO (XI (XO (XO (XI
+    XH))))))) :: ((Zpos (XO (XO (XO (XI (XI (XI XH))))))) :: ((Zpos (XI (XO
+    (XI (XO (XO (XI XH))))))) :: ((Zpos (XI (XI (XO (XO (XO (XI
+    XH))))))) :: ((Zpos (XI (XO (XI (XO (XI (XI XH))))))) :: ((Zpos (XO (XO
+    (XI (XO (XI (XI XH))))))) :: ((Zpos (XI (XO (XI (XO (XO (XI
+    XH))))))) :: ((Zpos (XI (XO (XI (XI (XO XH)))))) :: ((Zpos (XI (XO (XI
+    (XI (XO (XI XH))))))) :: ((Zpos (XI (XO (XI (XO (XI (XI
+    XH))))))) :: ((Zpos (XO (XO (XI (XI (XO (XI XH))))))) :: ((Zpos (XO (XO
+    (XI (XO (XI (XI XH))))))) :: ((Zpos (XI (XO (XO (XI (XO (XI
+    XH))))))) :: []))))))))))))) :: (((Zpos (XI (XO (XI (XO (XO (XI
+    XH))))))) :: ((Zpos (XO (XO (XO (XI (XI (XI XH))))))) :: ((Zpos (XI (XO
+    (XI (XO (XO (XI XH))))))) :: ((Zpos (XI (XI (XO (XO (XO (XI
+    XH))))))) :: ((Zpos (XI (XO (XI (XO (XI (XI XH))))))) :: ((Zpos (XO (XO
+    (XI (XO (XI (XI XH))))))) :: ((Zpos (XI (XO (XI (XO (XO (XI
+    XH))))))) :: ((Zpos (XI (XO (XI (XI (XO XH)))))) :: ((Zpos (XI (XI (XO
+    (XO (XI (XI XH))))))) :: ((Zpos (XI (XO (XO (XI (XO (XI
+    XH))))))) :: ((Zpos (XO (XO (XI (XI (XO (XI XH))))))) :: ((Zpos (XI (XO
+    (XI (XO (XO (XI XH))))))) :: ((Zpos (XO (XI (XI (XI (XO (XI
+    XH))))))) :: ((Zpos (XO (XO (XI (XO (XI (XI
+    XH))))))) :: [])))))))))))))) :: (((Zpos (XI (XO (XI (XO (XO (XI
+    XH))))))) :: ((Zpos (XO (XO (XO (XI (XI (XI XH))))))) :: ((Zpos (XI (XO
+    (XI (XO (XO (XI XH))))))) :: ((Zpos (XI (XI (XO (XO (XO (XI
+    XH))))))) :: ((Zpos (XI (XO (XI (XO (XI (XI XH))))))) :: ((Zpos (XO (XO
+    (XI (XO (XI (XI XH))))))) :: ((Zpos (XI (XO (XI (XO (XO (XI
+    XH))))))) :: []))))))) :: (((Zpos (XO (XI (XO (XO (XI (XI
+    XH))))))) :: ((Zpos (XI (XO (XI (XO (XO (XI XH))))))) :: ((Zpos (XO (XO
+    (XI (XI (XO (XI XH))))))) :: ((Zpos (XI (XI (XI (XI (XO (XI
+    XH))))))) :: ((Zpos (XI (XO (XO (XO (XO (XI XH))))))) :: ((Zpos (XO (XO
+    (XI (XO (XO (XI XH))))))) :: ((Zpos (XI (XO (XI (XI (XO
+    XH)))))) :: ((Zpos (XI (XI (XO (XO (XI (XI XH))))))) :: ((Zpos (XI (XO
+    (XO (XI (XI (XI XH))))))) :: ((Zpos (XO (XI (XI (XI (XO (XI
+    XH))))))) :: ((Zpos (XI (XI (XO (XO (XO (XI
+    XH))))))) :: []))))))))))) :: (((Zpos (XO (XI (XO (XO (XI (XI
+    XH))))))) :: ((Zpos (XI (XO (XI (XO (XO (XI XH))))))) :: ((Zpos (XO (XO
+    (XI (XI (XO (XI XH))))))) :: ((Zpos (XI (XI (XI (XI (XO (XI
+    XH))))))) :: ((Zpos (XI (XO (XO (XO (XO (XI XH))))))) :: ((Zpos (XO (XO
+    (XI (XO (XO (XI XH))))))) :: [])))))) :: (((Zpos (XO (XO (XO (XO (XI (XI
+    XH))))))) :: ((Zpos (XO (XI (XO (XO (XI (XI XH))))))) :: ((Zpos (XI (XO
+    (XI (XO (XO (XI XH))))))) :: ((Zpos (XO (XI (XI (XO (XI (XI
+    XH))))))) :: ((Zpos (XI (XO (XO (XI (XO (XI XH))))))) :: ((Zpos (XI (XO
+    (XI (XO (XO (XI XH))))))) :: ((Zpos (XI (XI (XI (XO (XI (XI
+    XH))))))) :: []))))))) :: (((Zpos (XI (XI (XO (XO (XO (XI
+    XH))))))) :: ((Zpos (XO (XO (XO (XI (XO (XI XH))))))) :: ((Zpos (XI (XO
+    (XO (XO (XO (XI XH))))))) :: ((Zpos (XO (XI (XI (XI (XO (XI
+    XH))))))) :: ((Zpos (XI (XI (XI (XO (XO (XI XH))))))) :: ((Zpos (XI (XO
+    (XI (XO (XO (XI XH))))))) :: ((Zpos (XI (XO (XI (XI (XO
+    XH)))))) :: ((Zpos (XI (XO (XO (XO (XI (XI XH))))))) :: ((Zpos (XI (XO
+    (XI (XO (XI (XI XH))))))) :: ((Zpos (XI (XO (XI (XO (XO (XI
+    XH))))))) :: ((Zpos (XO (XI (XO (XO (XI (XI XH))))))) :: ((Zpos (XI (XO
+    (XO (XI (XI (XI XH))))))) :: [])))))))))))) :: (((Zpos (XI (XI (XO (XO
+    (XO (XI XH))))))) :: ((Zpos (XO (XO (XO (XI (XO (XI XH))))))) :: ((Zpos
+    (XI (XO (XO (XO (XO (XI XH))))))) :: ((Zpos (XO (XI (XI (XI (XO (XI
+    XH))))))) :: ((Zpos (XI (XI (XI (XO (XO (XI XH))))))) :: ((Zpos (XI (XO
+    (XI (XO (XO (XI XH))))))) :: ((Zpos (XI (XO (XI (XI (XO
+    XH)))))) :: ((Zpos (XO (XO (XO (XO (XI (XI XH))))))) :: ((Zpos (XO (XI
+    (XO (XO (XI (XI XH))))))) :: ((Zpos (XI (XI (XI (XI (XO (XI
+    XH))))))) :: ((Zpos (XI (XO (XI (XI (XO (XI XH))))))) :: ((Zpos (XO (XO
+    (XO (XO (XI (XI XH))))))) :: ((Zpos (XO (XO (XI (XO (XI (XI
+    XH))))))) :: []))))))))))))) :: (((Zpos (XI (XI (XO (XO (XO (XI
+    XH))))))) :: ((Zpos (XO (XO (XO (XI (XO (XI XH))))))) :: ((Zpos (XI (XO
+    (XO (XO (XO (XI XH))))))) :: ((Zpos (XO (XI (XI (XI (XO (XI
+    XH))))))) :: ((Zpos (XI (XI (XI (XO (XO (XI XH))))))) :: ((Zpos (XI (XO
+    (XI (XO (XO (XI XH))))))) :: ((Zpos (XI (XO (XI (XI (XO
+    XH)))))) :: ((Zpos (XO (XI (XO (XO (XO (XI XH))))))) :: ((Zpos (XI (XI
+    (XI (XI (XO (XI XH))))))) :: ((Zpos (XO (XI (XO (XO (XI (XI
+    XH))))))) :: ((Zpos (XO (XO (XI (XO (XO (XI XH))))))) :: ((Zpos (XI (XO
+    (XI (XO (XO (XI XH))))))) :: ((Zpos (XO (XI (XO (XO (XI (XI
+    XH))))))) :: ((Zpos (XI (XO (XI (XI (XO XH)))))) :: ((Zpos (XO (XO (XI
+    (XI (XO (XI XH))))))) :: ((Zpos (XI (XO (XO (XO (XO (XI
+    XH))))))) :: ((Zpos (XO (XI (XO (XO (XO (XI XH))))))) :: ((Zpos (XI (XO
+    (XI (XO (XO (XI XH))))))) :: ((Zpos (XO (XO (XI (XI (XO (XI
+    XH))))))) :: []))))))))))))))))))) :: (((Zpos (XI (XI (XO (XO (XO (XI
+    XH))))))) :: ((Zpos (XO (XO (XO (XI (XO (XI XH))))))) :: ((Zpos (XI (XO
+    (XO (XO (XO (XI XH))))))) :: ((Zpos (XO (XI (XI (XI (XO (XI
+    XH))))))) :: ((Zpos (XI (XI (XI (XO (XO (XI XH))))))) :: ((Zpos (XI (XO
+    (XI (XO (XO (XI XH))))))) :: ((Zpos (XI (XO (XI (XI (XO
+    XH)))))) :: ((Zpos (XO (XO (XI (XI (XO (XI XH))))))) :: ((Zpos (XI (XO
+    (XO (XI (XO (XI XH))))))) :: ((Zpos (XI (XI (XO (XO (XI (XI
+    XH))))))) :: ((Zpos (XO (XO (XI (XO (XI (XI XH))))))) :: ((Zpos (XI (XO
+    (XI (XI (XO XH)))))) :: ((Zpos (XO (XO (XI (XI (XO (XI
+    XH))))))) :: ((Zpos (XI (XO (XO (XO (XO (XI XH))))))) :: ((Zpos (XO (XI
+    (XO (XO (XO (XI XH))))))) :: ((Zpos (XI (XO (XI (XO (XO (XI
+    XH))))))) :: ((Zpos (XO (XO (XI (XI (XO (XI
+    XH))))))) :: []))))))))))))))))) :: (((Zpos (XI (XI (XO (XO (XO (XI
+    XH))))))) :: ((Zpos (XO (XO (XO (XI (XO (XI XH))))))) :: ((Zpos (XI (XO
+    (XO (XO (XO (XI XH))))))) :: ((Zpos (XO (XI (XI (XI (XO (XI
+    XH))))))) :: ((Zpos (XI (XI (XI (XO (XO (XI XH))))))) :: ((Zpos (XI (XO
+    (XI (XO (XO (XI XH))))))) :: ((Zpos (XI (XO (XI (XI (XO
+    XH)))))) :: ((Zpos (XO (XO (XO (XO (XI (XI XH))))))) :: ((Zpos (XO (XI
+    (XO (XO (XI (XI XH))))))) :: ((Zpos (XI (XO (XI (XO (XO (XI
+    XH))))))) :: ((Zpos (XO (XI (XI (XO (XI (XI XH))))))) :: ((Zpos (XI (XO
+    (XO (XI (XO (XI XH))))))) :: ((Zpos (XI (XO (XI (XO (XO (XI
+    XH))))))) :: ((Zpos (XI (XI (XI (XO (XI (XI XH))))))) :: ((Zpos (XI (XO
+    (XI (XI (XO XH)))))) :: ((Zpos (XO (XO (XI (XI (XO (XI
+    XH))))))) :: ((Zpos (XI (XO (XO (XO (XO (XI XH))))))) :: ((Zpos (XO (XI
+    (XO (XO (XO (XI XH))))))) :: ((Zpos (XI (XO (XI (XO (XO (XI
+    XH))))))) :: ((Zpos (XO (XO (XI (XI (XO (XI
+    XH))))))) :: [])))))))))))))))))))) :: (((Zpos (XI (XI (XO (XO (XO (XI
+    XH))))))) :: ((Zpos (XO (XO (XO (XI (XO (XI XH))))))) :: ((Zpos (XI (XO
+    (XO (XO (XO (XI XH))))))) :: ((Zpos (XO (XI (XI (XI (XO (XI
+    XH))))))) :: ((Zpos (XI (XI (XI (XO (XO (XI XH))))))) :: ((Zpos (XI (XO
+    (XI (XO (XO (XI XH))))))) :: ((Zpos (XI (XO (XI (XI (XO
+    XH)))))) :: ((Zpos (XI (XO (XO (XI (XO (XI XH))))))) :: ((Zpos (XO (XI
+    (XI (XI (XO (XI XH))))))) :: ((Zpos (XO (XO (XO (XO (XI (XI
+    XH))))))) :: ((Zpos (XI (XO (XI (XO (XI (XI XH))))))) :: ((Zpos (XO (XO
+    (XI (XO (XI (XI XH))))))) :: ((Zpos (XI (XO (XI (XI (XO
+    XH)))))) :: ((Zpos (XO (XO (XI (XI (XO (XI XH))))))) :: ((Zpos (XI (XO
+    (XO (XO (XO (XI XH))))))) :: ((Zpos (XO (XI (XO (XO (XO (XI
+    XH))))))) :: ((Zpos (XI (XO (XI (XO (XO (XI XH))))))) :: ((Zpos (XO (XO
+    (XI (XI (XO (XI XH))))))) :: [])))))))))))))))))) :: (((Zpos (XI (XI (XO
+    (XO (XO (XI XH))))))) :: ((Zpos (XO (XO (XO (XI (XO (XI
+    XH))))))) :: ((Zpos (XI (XO (XO (XO (XO (XI XH))))))) :: ((Zpos (XO (XI
+    (XI (XI (XO (XI XH))))))) :: ((Zpos (XI (XI (XI (XO (XO (XI
+    XH))))))) :: ((Zpos (XI (XO (XI (XO (XO (XI XH))))))) :: ((Zpos (XI (XO
+    (XI (XI (XO XH)))))) :: ((Zpos (XO (XO (XO (XI (XO (XI
+    XH))))))) :: ((Zpos (XI (XO (XI (XO (XO (XI XH))))))) :: ((Zpos (XI (XO
+    (XO (XO (XO (XI XH))))))) :: ((Zpos (XO (XO (XI (XO (XO (XI
+    XH))))))) :: ((Zpos (XI (XO (XI (XO (XO (XI XH))))))) :: ((Zpos (XO (XI
+    (XO (XO (XI (XI XH))))))) :: ((Zpos (XI (XO (XI (XI (XO
+    XH)))))) :: ((Zpos (XO (XO (XI (XI (XO (XI XH))))))) :: ((Zpos (XI (XO
+    (XO (XO (XO (XI XH))))))) :: ((Zpos (XO (XI (XO (XO (XO (XI
+    XH))))))) :: ((Zpos (XI (XO (XI (XO (XO (XI XH))))))) :: ((Zpos (XO (XO
+    (XI (XI (XO (XI XH))))))) :: []))))))))))))))))))) :: (((Zpos (XI (XI (XO
+    (XO (XO (XI XH))))))) :: ((Zpos (XO (XO (XO (XI (XO (XI
+    XH))))))) :: ((Zpos (XI (XO (XO (XO (XO (XI XH))))))) :: ((Zpos (XO (XI
+    (XI (XI (XO (XI XH))))))) :: ((Zpos (XI (XI (XI (XO (XO (XI
+    XH))))))) :: ((Zpos (XI (XO (XI (XO (XO (XI XH))))))) :: ((Zpos (XI (XO
+    (XI (XI (XO XH)))))) :: ((Zpos (XO (XO (XO (XI (XO (XI
+    XH))))))) :: ((Zpos (XI (XO (XI (XO (XO (XI XH))))))) :: ((Zpos (XI (XO
+    (XO (XO (XO (XI XH))))))) :: ((Zpos (XO (XO (XI (XO (XO (XI
+    XH))))))) :: ((Zpos (XI (XO (XI (XO (XO (XI XH))))))) :: ((Zpos (XO (XI
+    (XO (XO (XI (XI XH))))))) :: []))))))))))))) :: (((Zpos (XI (XI (XO (XO
+    (XO (XI XH))))))) :: ((Zpos (XO (XO (XO (XI (XO (XI XH))))))) :: ((Zpos
+    (XI (XO (XO (XO (XO (XI XH))))))) :: ((Zpos (XO (XI (XI (XI (XO (XI
+    XH))))))) :: ((Zpos (XI (XI (XI (XO (XO (XI XH))))))) :: ((Zpos (XI (XO
+    (XI (XO (XO (XI XH))))))) :: ((Zpos (XI (XO (XI (XI (XO
+    XH)))))) :: ((Zpos (XI (XI (XO (XO (XI (XI XH))))))) :: ((Zpos (XI (XO
+    (XI (XO (XO (XI XH))))))) :: ((Zpos (XI (XO (XO (XO (XO (XI
+    XH))))))) :: ((Zpos (XO (XI (XO (XO (XI (XI XH))))))) :: ((Zpos (XI (XI
+    (XO (XO (XO (XI XH))))))) :: ((Zpos (XO (XO (XO (XI (XO (XI
+    XH))))))) :: []))))))))))))) :: (((Zpos (XI (XI (XO (XO (XO (XI
+    XH))))))) :: ((Zpos (XO (XO (XO (XI (XO (XI XH))))))) :: ((Zpos (XI (XO
+    (XO (XO (XO (XI XH))))))) :: ((Zpos (XO (XI (XI (XI (XO (XI
+    XH))))))) :: ((Zpos (XI (XI (XI (XO (XO (XI XH))))))) :: ((Zpos (XI (XO
+    (XI (XO (XO (XI XH))))))) :: ((Zpos (XI (XO (XI (XI (XO
+    XH)))))) :: ((Zpos (XO (XI (XI (XI (XO (XI XH))))))) :: ((Zpos (XO (XO
+    (XI (XO (XI (XI XH))))))) :: ((Zpos (XO (XO (XO (XI (XO (XI
+    XH))))))) :: [])))))))))) :: (((Zpos (XI (XI (XO (XO (XO (XI
+    XH))))))) :: ((Zpos (XO (XO (XO (XI (XO (XI XH))))))) :: ((Zpos (XI (XO
+    (XO (XO (XO (XI XH))))))) :: ((Zpos (XO (XI (XI (XI (XO (XI
+    XH))))))) :: ((Zpos (XI (XI (XI (XO (XO (XI XH))))))) :: ((Zpos (XI (XO
+    (XI (XO (XO (XI XH))))))) :: ((Zpos (XI (XO (XI (XI (XO
+    XH)))))) :: ((Zpos (XO (XO (XO (XO (XI (XI XH))))))) :: ((Zpos (XI (XI
+    (XI (XI (XO (XI XH))))))) :: ((Zpos (XI (XO (XO (XI (XO (XI
+    XH))))))) :: ((Zpos (XO (XI (XI (XI (XO (XI XH))))))) :: ((Zpos (XO (XO
+    (XI (XO (XI (XI XH))))))) :: ((Zpos (XI (XO (XI (XO (XO (XI
+    XH))))))) :: ((Zpos (XO (XI (XO (XO (XI (XI
+    XH))))))) :: [])))))))))))))) :: (((Zpos (XI (XI (XO (XO (XO (XI
+    XH))))))) :: ((Zpos (XO (XO (XO (XI (XO (XI XH))))))) :: ((Zpos (XI (XO
+    (XO (XO (XO (XI XH))))))) :: ((Zpos (XO (XI (XI (XI (XO (XI
+    XH))))))) :: ((Zpos (XI (XI (XI (XO (XO (XI XH))))))) :: ((Zpos (XI (XO
+    (XI (XO (XO (XI XH))))))) :: ((Zpos (XI (XO (XI (XI (XO
+    XH)))))) :: ((Zpos (XI (XI (XI (XO (XO (XI XH))))))) :: ((Zpos (XO (XO
+    (XO (XI (XO (XI XH))))))) :: ((Zpos (XI (XI (XI (XI (XO (XI
+    XH))))))) :: ((Zpos (XI (XI (XO (XO (XI (XI XH))))))) :: ((Zpos (XO (XO
+    (XI (XO (XI (XI XH))))))) :: [])))))))))))) :: (((Zpos (XO (XO (XI (XO
+    (XI (XI XH))))))) :: ((Zpos (XO (XI (XO (XO (XI (XI XH))))))) :: ((Zpos
+    (XI (XO (XO (XO (XO (XI XH))))))) :: ((Zpos (XO (XI (XI (XI (XO (XI
+    XH))))))) :: ((Zpos (XI (XI (XO (XO (XI (XI XH))))))) :: ((Zpos (XO (XI
+    (XI (XO (XO (XI XH))))))) :: ((Zpos (XI (XI (XI (XI (XO (XI
+    XH))))))) :: ((Zpos (XO (XI (XO (XO (XI (XI XH))))))) :: ((Zpos (XI (XO
+    (XI (XI (XO (XI XH))))))) :: ((Zpos (XI (XO (XI (XI (XO
+    XH)))))) :: ((Zpos (XI (XO (XO (XO (XI (XI XH))))))) :: ((Zpos (XI (XO
+    (XI (XO (XI (XI XH))))))) :: ((Zpos (XI (XO (XI (XO (XO (XI
+    XH))))))) :: ((Zpos (XO (XI (XO (XO (XI (XI XH))))))) :: ((Zpos (XI (XO
+    (XO (XI (XI (XI XH))))))) :: []))))))))))))))) :: (((Zpos (XO (XO (XI (XO
+    (XI (XI XH))))))) :: ((Zpos (XO (XI (XO (XO (XI (XI XH))))))) :: ((Zpos
+    (XI (XO (XO (XO (XO (XI XH))))))) :: ((Zpos (XO (XI (XI (XI (XO (XI
+    XH))))))) :: ((Zpos (XI (XI (XO (XO (XI (XI XH))))))) :: ((Zpos (XO (XI
+    (XI (XO (XO (XI XH))))))) :: ((Zpos (XI (XI (XI (XI (XO (XI
+    XH))))))) :: ((Zpos (XO (XI (XO (XO (XI (XI XH))))))) :: ((Zpos (XI (XO
+    (XI (XI (XO (XI XH))))))) :: ((Zpos (XI (XO (XI (XI (XO
+    XH)))))) :: ((Zpos (XO (XO (XO (XO (XI (XI XH))))))) :: ((Zpos (XO (XI
+    (XO (XO (XI (XI XH))))))) :: ((Zpos (XI (XI (XI (XI (XO (XI
+    XH))))))) :: ((Zpos (XI (XO (XI (XI (XO (XI XH))))))) :: ((Zpos (XO (XO
+    (XO (XO (XI (XI XH))))))) :: ((Zpos (XO (XO (XI (XO (XI (XI
+    XH))))))) :: [])))))))))))))))) :: (((Zpos (XO (XO (XI (XO (XI (XI
+    XH))))))) :: ((Zpos (XO (XI (XO (XO (XI (XI XH))))))) :: ((Zpos (XI (XO
+    (XO (XO (XO (XI XH))))))) :: ((Zpos (XO (XI (XI (XI (XO (XI
+    XH))))))) :: ((Zpos (XI (XI (XO (XO (XI (XI XH))))))) :: ((Zpos (XO (XI
+    (XI (XO (XO (XI XH))))))) :: ((Zpos (XI (XI (XI (XI (XO (XI
+    XH))))))) :: ((Zpos (XO (XI (XO (XO (XI (XI XH))))))) :: ((Zpos (XI (XO
+    (XI (XI (XO (XI XH))))))) :: ((Zpos (XI (XO (XI (XI (XO
+    XH)))))) :: ((Zpos (XO (XI (XO (XO (XO (XI XH))))))) :: ((Zpos (XI (XI
+    (XI (XI (XO (XI XH))))))) :: ((Zpos (XO (XI (XO (XO (XI (XI
+    XH))))))) :: ((Zpos (XO (XO (XI (XO (XO (XI XH))))))) :: ((Zpos (XI (XO
+    (XI (XO (XO (XI XH))))))) :: ((Zpos (XO (XI (XO (XO (XI (XI
+    XH))))))) :: ((Zpos (XI (XO (XI (XI (XO XH)))))) :: ((Zpos (XO (XO (XI
+    (XI (XO (XI XH))))))) :: ((Zpos (XI (XO (XO (XO (XO (XI
+    XH))))))) :: ((Zpos (XO (XI (XO (XO (XO (XI XH))))))) :: ((Zpos (XI (XO
+    (XI (XO (XO (XI XH))))))) :: ((Zpos (XO (XO (XI (XI (XO (XI
+    XH))))))) :: [])))))))))))))))))))))) :: (((Zpos (XO (XO (XI (XO (XI (XI
+    XH))))))) :: ((Zpos (XO (XI (XO (XO (XI (XI XH))))))) :: ((Zpos (XI (XO
+    (XO (XO (XO (XI XH))))))) :: ((Zpos (XO (XI (XI (XI (XO (XI
+    XH))))))) :: ((Zpos (XI (XI (XO (XO (XI (XI XH))))))) :: ((Zpos (XO (XI
+    (XI (XO (XO (XI XH))))))) :: ((Zpos (XI (XI (XI (XI (XO (XI
+    XH))))))) :: ((Zpos (XO (XI (XO (XO (XI (XI XH))))))) :: ((Zpos (XI (XO
+    (XI (XI (XO (XI XH))))))) :: ((Zpos (XI (XO (XI (XI (XO
+    XH)))))) :: ((Zpos (XO (XO (XI (XI (XO (XI XH))))))) :: ((Zpos (XI (XO
+    (XO (XI (XO (XI XH))))))) :: ((Zpos (XI (XI (XO (XO (XI (XI
+    XH))))))) :: ((Zpos (XO (XO (XI (XO (XI (XI XH))))))) :: ((Zpos (XI (XO
+    (XI (XI (XO XH)))))) :: ((Zpos (XO (XO (XI (XI (XO (XI
+    XH))))))) :: ((Zpos (XI (XO (XO (XO (XO (XI XH))))))) :: ((Zpos (XO (XI
+    (XO (XO (XO (XI XH))))))) :: ((Zpos (XI (XO (XI (XO (XO (XI
+    XH))))))) :: ((Zpos (XO (XO (XI (XI (XO (XI
+    XH))))))) :: [])))))))))))))))))))) :: (((Zpos (XO (XO (XI (XO (XI (XI
+    XH))))))) :: ((Zpos (XO (XI (XO (XO (XI (XI XH))))))) :: ((Zpos (XI (XO
+    (XO (XO (XO (XI XH))))))) :: ((Zpos (XO (XI (XI (XI (XO (XI
+    XH))))))) :: ((Zpos (XI (XI (XO (XO (XI (XI XH))))))) :: ((Zpos (XO (XI
+    (XI (XO (XO (XI XH))))))) :: ((Zpos (XI (XI (XI (XI (XO (XI
+    XH))))))) :: ((Zpos (XO (XI (XO (XO (XI (XI XH))))))) :: ((Zpos (XI (XO
+    (XI (XI (XO (XI XH))))))) :: ((Zpos (XI (XO (XI (XI (XO
+    XH)))))) :: ((Zpos (XO (XO (XO (XO (XI (XI XH))))))) :: ((Zpos (XO (XI
+    (XO (XO (XI (XI XH))))))) :: ((Zpos (XI (XO (XI (XO (XO (XI
+    XH))))))) :: ((Zpos (XO (XI (XI (XO (XI (XI XH))))))) :: ((Zpos (XI (XO
+    (XO (XI (XO (XI XH))))))) :: ((Zpos (XI (XO (XI (XO (XO (XI
+    XH))))))) :: ((Zpos (XI (XI (XI (XO (XI (XI XH))))))) :: ((Zpos (XI (XO
+    (XI (XI (XO XH)))))) :: ((Zpos (XO (XO (XI (XI (XO (XI
+    XH))))))) :: ((Zpos (XI (XO (XO (XO (XO (XI XH))))))) :: ((Zpos (XO (XI
+    (XO (XO (XO (XI XH))))))) :: ((Zpos (XI (XO (XI (XO (XO (XI
+    XH))))))) :: ((Zpos (XO (XO (XI (XI (XO (XI
+    XH))))))) :: []))))))))))))))))))))))) :: (((Zpos (XO (XO (XI (XO (XI (XI
+    XH))))))) :: ((Zpos (XO (XI (XO (XO (XI (XI XH))))))) :: ((Zpos (XI (XO
+    (XO (XO (XO (XI XH))))))) :: ((Zpos (XO (XI (XI (XI (XO (XI
+    XH))))))) :: ((Zpos (XI (XI (XO (XO (XI (XI XH))))))) :: ((Zpos (XO (XI
+    (XI (XO (XO (XI XH))))))) :: ((Zpos (XI (XI (XI (XI (XO (XI
+    XH))))))) :: ((Zpos (XO (XI (XO (XO (XI (XI XH))))))) :: ((Zpos (XI (XO
+    (XI (XI (XO (XI XH))))))) :: ((Zpos (XI (XO (XI (XI (XO
+    XH)))))) :: ((Zpos (XI (XO (XO (XI (XO (XI XH))))))) :: ((Zpos (XO (XI
+    (XI (XI (XO (XI XH))))))) :: ((Zpos (XO (XO (XO (XO (XI (XI
+    XH))))))) :: ((Zpos (XI (XO (XI (XO (XI (XI XH))))))) :: ((Zpos (XO (XO
+    (XI (XO (XI (XI XH))))))) :: ((Zpos (XI (XO (XI (XI (XO
+    XH)))))) :: ((Zpos (XO (XO (XI (XI (XO (XI XH))))))) :: ((Zpos (XI (XO
+    (XO (XO (XO (XI XH))))))) :: ((Zpos (XO (XI (XO (XO (XO (XI
+    XH))))))) :: ((Zpos (XI (XO (XI (XO (XO (XI XH))))))) :: ((Zpos (XO (XO
+    (XI (XI (XO (XI XH))))))) :: []))))))))))))))))))))) :: (((Zpos (XO (XO
+    (XI (XO (XI (XI XH))))))) :: ((Zpos (XO (XI (XO (XO (XI (XI
+    XH))))))) :: ((Zpos (XI (XO (XO (XO (XO (XI XH))))))) :: ((Zpos (XO (XI
+    (XI (XI (XO (XI XH))))))) :: ((Zpos (XI (XI (XO (XO (XI (XI
+    XH))))))) :: ((Zpos (XO (XI (XI (XO (XO (XI XH))))))) :: ((Zpos (XI (XI
+    (XI (XI (XO (XI XH))))))) :: ((Zpos (XO (XI (XO (XO (XI (XI
+    XH))))))) :: ((Zpos (XI (XO (XI (XI (XO (XI XH))))))) :: ((Zpos (XI (XO
+    (XI (XI (XO XH)))))) :: ((Zpos (XO (XO (XO (XI (XO (XI
+    XH))))))) :: ((Zpos (XI (XO (XI (XO (XO (XI XH))))))) :: ((Zpos (XI (XO
+    (XO (XO (XO (XI XH))))))) :: ((Zpos (XO (XO (XI (XO (XO (XI
+    XH))))))) :: ((Zpos (XI (XO (XI (XO (XO (XI XH))))))) :: ((Zpos (XO (XI
+    (XO (XO (XI (XI XH))))))) :: ((Zpos (XI (XO (XI (XI (XO
+    XH)))))) :: ((Zpos (XO (XO (XI (XI (XO (XI XH))))))) :: ((Zpos (XI (XO
+    (XO (XO (XO (XI XH))))))) :: ((Zpos (XO (XI (XO (XO (XO (XI
+    XH))))))) :: ((Zpos (XI (XO (XI (XO (XO (XI XH))))))) :: ((Zpos (XO (XO
+    (XI (XI (XO (XI XH))))))) :: [])))))))))))))))))))))) :: (((Zpos (XO (XO
+    (XI (XO (XI (XI XH))))))) :: ((Zpos (XO (XI (XO (XO (XI (XI
+    XH))))))) :: ((Zpos (XI (XO (XO (XO (XO (XI XH))))))) :: ((Zpos (XO (XI
+    (XI (XI (XO (XI XH))))))) :: ((Zpos (XI (XI (XO (XO (XI (XI
+    XH))))))) :: ((Zpos (XO (XI (XI (XO (XO (XI XH))))))) :: ((Zpos (XI (XI
+    (XI (XI (XO (XI XH))))))) :: ((Zpos (XO (XI (XO (XO (XI (XI
+    XH))))))) :: ((Zpos (XI (XO (XI (XI (XO (XI XH))))))) :: ((Zpos (XI (XO
+    (XI (XI (XO XH)))))) :: ((Zpos (XO (XO (XO (XI (XO (XI
+    XH))))))) :: ((Zpos (XI (XO (XI (XO (XO (XI XH))))))) :: ((Zpos (XI (XO
+    (XO (XO (XO (XI XH))))))) :: ((Zpos (XO (XO (XI (XO (XO (XI
+    XH))))))) :: ((Zpos (XI (XO (XI (XO (XO (XI XH))))))) :: ((Zpos (XO (XI
+    (XO (XO (XI (XI XH))))))) :: [])))))))))))))))) :: (((Zpos (XO (XO (XI
+    (XO (XI (XI XH))))))) :: ((Zpos (XO (XI (XO (XO (XI (XI
+    XH))))))) :: ((Zpos (XI (XO (XO (XO (XO (XI XH))))))) :: ((Zpos (XO (XI
+    (XI (XI (XO (XI XH))))))) :: ((Zpos (XI (XI (XO (XO (XI (XI
+    XH))))))) :: ((Zpos (XO (XI (XI (XO (XO (XI XH))))))) :: ((Zpos (XI (XI
+    (XI (XI (XO (XI XH))))))) :: ((Zpos (XO (XI (XO (XO (XI (XI
+    XH))))))) :: ((Zpos (XI (XO (XI (XI (XO (XI XH))))))) :: ((Zpos (XI (XO
+    (XI (XI (XO XH)))))) :: ((Zpos (XI (XI (XO (XO (XI (XI
+    XH))))))) :: ((Zpos (XI (XO (XI (XO (XO (XI XH))))))) :: ((Zpos (XI (XO
+    (XO (XO (XO (XI XH))))))) :: ((Zpos (XO (XI (XO (XO (XI (XI
+    XH))))))) :: ((Zpos (XI (XI (XO (XO (XO (XI XH))))))) :: ((Zpos (XO (XO
+    (XO (XI (XO (XI XH))))))) :: [])))))))))))))))) :: (((Zpos (XO (XO (XI
+    (XO (XI (XI XH))))))) :: ((Zpos (XO (XI (XO (XO (XI (XI
+    XH))))))) :: ((Zpos (XI (XO (XO (XO (XO (XI XH))))))) :: ((Zpos (XO (XI
+    (XI (XI (XO (XI XH))))))) :: ((Zpos (XI (XI (XO (XO (XI (XI
+    XH))))))) :: ((Zpos (XO (XI (XI (XO (XO (XI XH))))))) :: ((Zpos (XI (XI
+    (XI (XI (XO (XI XH))))))) :: ((Zpos (XO (XI (XO (XO (XI (XI
+    XH))))))) :: ((Zpos (XI (XO (XI (XI (XO (XI XH))))))) :: ((Zpos (XI (XO
+    (XI (XI (XO XH)))))) :: ((Zpos (XO (XI (XI (XI (XO (XI
+    XH))))))) :: ((Zpos (XO (XO (XI (XO (XI (XI XH))))))) :: ((Zpos (XO (XO
+    (XO (XI (XO (XI XH))))))) :: []))))))))))))) :: (((Zpos (XO (XO (XI (XO
+    (XI (XI XH))))))) :: ((Zpos (XO (XI (XO (XO (XI (XI XH))))))) :: ((Zpos
+    (XI (XO (XO (XO (XO (XI XH))))))) :: ((Zpos (XO (XI (XI (XI (XO (XI
+    XH))))))) :: ((Zpos (XI (XI (XO (XO (XI (XI XH))))))) :: ((Zpos (XO (XI
+    (XI (XO (XO (XI XH))))))) :: ((Zpos (XI (XI (XI (XI (XO (XI
+    XH))))))) :: ((Zpos (XO (XI (XO (XO (XI (XI XH))))))) :: ((Zpos (XI (XO
+    (XI (XI (XO (XI XH))))))) :: ((Zpos (XI (XO (XI (XI (XO
+    XH)))))) :: ((Zpos (XO (XO (XO (XO (XI (XI XH))))))) :: ((Zpos (XI (XI
+    (XI (XI (XO (XI XH))))))) :: ((Zpos (XI (XO (XO (XI (XO (XI
+    XH))))))) :: ((Zpos (XO (XI (XI (XI (XO (XI XH))))))) :: ((Zpos (XO (XO
+    (XI (XO (XI (XI XH))))))) :: ((Zpos (XI (XO (XI (XO (XO (XI
+    XH))))))) :: ((Zpos (XO (XI (XO (XO (XI (XI
+    XH))))))) :: []))))))))))))))))) :: (((Zpos (XO (XO (XI (XO (XI (XI
+    XH))))))) :: ((Zpos (XO (XI (XO (XO (XI (XI XH))))))) :: ((Zpos (XI (XO
+    (XO (XO (XO (XI XH))))))) :: ((Zpos (XO (XI (XI (XI (XO (XI
+    XH))))))) :: ((Zpos (XI (XI (XO (XO (XI (XI XH))))))) :: ((Zpos (XO (XI
+    (XI (XO (XO (XI XH))))))) :: ((Zpos (XI (XI (XI (XI (XO (XI
+    XH))))))) :: ((Zpos (XO (XI (XO (XO (XI (XI XH))))))) :: ((Zpos (XI (XO
+    (XI (XI (XO (XI XH))))))) :: ((Zpos (XI (XO (XI (XI (XO
+    XH)))))) :: ((Zpos (XI (XI (XI (XO (XO (XI XH))))))) :: ((Zpos (XO (XO
+    (XO (XI (XO (XI XH))))))) :: ((Zpos (XI (XI (XI (XI (XO (XI
+    XH))))))) :: ((Zpos (XI (XI (XO (XO (XI (XI XH))))))) :: ((Zpos (XO (XO
+    (XI (XO (XI (XI XH))))))) :: []))))))))))))))) :: (((Zpos (XO (XO (XI (XO
+    (XI (XI XH))))))) :: ((Zpos (XO (XI (XO (XO (XI (XI XH))))))) :: ((Zpos
+    (XI (XO (XO (XO (XO (XI XH))))))) :: ((Zpos (XO (XI (XI (XI (XO (XI
+    XH))))))) :: ((Zpos (XI (XI (XO (XO (XI (XI XH))))))) :: ((Zpos (XO (XI
+    (XI (XO (XO (XI XH))))))) :: ((Zpos (XI (XI (XI (XI (XO (XI
+    XH))))))) :: ((Zpos (XO (XI (XO (XO (XI (XI XH))))))) :: ((Zpos (XI (XO
+    (XI (XI (XO (XI XH))))))) :: []))))))))) :: (((Zpos (XI (XI (XO (XO (XO
+    (XI XH))))))) :: ((Zpos (XO (XO (XO (XI (XO (XI XH))))))) :: ((Zpos (XI
+    (XO (XO (XO (XO (XI XH))))))) :: ((Zpos (XO (XI (XI (XI (XO (XI
+    XH))))))) :: ((Zpos (XI (XI (XI (XO (XO (XI XH))))))) :: ((Zpos (XI (XO
+    (XI (XO (XO (XI XH))))))) :: ((Zpos (XI (XO (XI (XI (XO
+    XH)))))) :: ((Zpos (XO (XO (XO (XO (XI (XI XH))))))) :: ((Zpos (XO (XI
+    (XO (XO (XI (XI XH))))))) :: ((Zpos (XI (XO (XI (XO (XO (XI
+    XH))))))) :: ((Zpos (XO (XI (XI (XO (XI (XI XH))))))) :: ((Zpos (XI (XO
+    (XO (XI (XO (XI XH))))))) :: ((Zpos (XI (XO (XI (XO (XO (XI
+    XH))))))) :: ((Zpos (XI (XI (XI (XO (XI (XI XH))))))) :: ((Zpos (XI (XO
+    (XI (XI (XO XH)))))) :: ((Zpos (XI (XI (XI (XO (XI (XI
+    XH))))))) :: ((Zpos (XI (XO (XO (XI (XO (XI XH))))))) :: ((Zpos (XO (XI
+    (XI (XI (XO (XI XH))))))) :: ((Zpos (XO (XO (XI (XO (XO (XI
+    XH))))))) :: ((Zpos (XI (XI (XI (XI (XO (XI XH))))))) :: ((Zpos (XI (XI
+    (XI (XO (XI (XI XH))))))) :: []))))))))))))))))))))) :: (((Zpos (XI (XI
+    (XO (XO (XO (XI XH))))))) :: ((Zpos (XO (XO (XO (XI (XO (XI
+    XH))))))) :: ((Zpos (XI (XO (XO (XO (XO (XI XH))))))) :: ((Zpos (XO (XI
+    (XI (XI (XO (XI XH))))))) :: ((Zpos (XI (XI (XI (XO (XO (XI
+    XH))))))) :: ((Zpos (XI (XO (XI (XO (XO (XI XH))))))) :: ((Zpos (XI (XO
+    (XI (XI (XO XH)))))) :: ((Zpos (XO (XO (XO (XO (XI (XI
+    XH))))))) :: ((Zpos (XO (XI (XO (XO (XI (XI XH))))))) :: ((Zpos (XI (XO
+    (XI (XO (XO (XI XH))))))) :: ((Zpos (XO (XI (XI (XO (XI (XI
+    XH))))))) :: ((Zpos (XI (XO (XO (XI (XO (XI XH))))))) :: ((Zpos (XI (XO
+    (XI (XO (XO (XI XH))))))) :: ((Zpos (XI (XI (XI (XO (XI (XI
+    XH))))))) :: [])))))))))))))) :: (((Zpos (XI (XI (XO (XO (XO (XI
+    XH))))))) :: ((Zpos (XO (XO (XO (XI (XO (XI XH))))))) :: ((Zpos (XI (XO
+    (XO (XO (XO (XI XH))))))) :: ((Zpos (XO (XI (XI (XI (XO (XI
+    XH))))))) :: ((Zpos (XI (XI (XI (XO (XO (XI XH))))))) :: ((Zpos (XI (XO
+    (XI (XO (XO (XI XH))))))) :: ((Zpos (XI (XO (XI (XI (XO
+    XH)))))) :: ((Zpos (XI (XO (XI (XI (XO (XI XH))))))) :: ((Zpos (XI (XO
+    (XI (XO (XI (XI XH))))))) :: ((Zpos (XO (XO (XI (XI (XO (XI
+    XH))))))) :: ((Zpos (XO (XO (XI (XO (XI (XI XH))))))) :: ((Zpos (XI (XO
+    (XO (XI (XO (XI XH))))))) :: [])))))))))))) :: (((Zpos (XO (XI (XO (XO
+    (XI (XI XH))))))) :: ((Zpos (XI (XO (XI (XO (XO (XI XH))))))) :: ((Zpos
+    (XO (XI (XO (XO (XO (XI XH))))))) :: ((Zpos (XI (XO (XO (XI (XO (XI
+    XH))))))) :: ((Zpos (XO (XI (XI (XI (XO (XI XH))))))) :: ((Zpos (XO (XO
+    (XI (XO (XO (XI XH))))))) :: [])))))) :: (((Zpos (XI (XO (XI (XO (XI (XI
+    XH))))))) :: ((Zpos (XO (XI (XI (XI (XO (XI XH))))))) :: ((Zpos (XO (XI
+    (XO (XO (XO (XI XH))))))) :: ((Zpos (XI (XO (XO (XI (XO (XI
+    XH))))))) :: ((Zpos (XO (XI (XI (XI (XO (XI XH))))))) :: ((Zpos (XO (XO
+    (XI (XO (XO (XI XH))))))) :: [])))))) :: (((Zpos (XO (XO (XI (XO (XI (XI
+    XH))))))) :: ((Zpos (XI (XI (XI (XI (XO (XI XH))))))) :: ((Zpos (XI (XI
+    (XI (XO (XO (XI XH))))))) :: ((Zpos (XI (XI (XI (XO (XO (XI
+    XH))))))) :: ((Zpos (XO (XO (XI (XI (XO (XI XH))))))) :: ((Zpos (XI (XO
+    (XI (XO (XO (XI XH))))))) :: ((Zpos (XI (XO (XI (XI (XO
+    XH)))))) :: ((Zpos (XO (XI (XO (XO (XO (XI XH))))))) :: ((Zpos (XI (XO
+    (XO (XI (XO (XI XH))))))) :: ((Zpos (XO (XI (XI (XI (XO (XI
+    XH))))))) :: ((Zpos (XO (XO (XI (XO (XO (XI
+    XH))))))) :: []))))))))))) :: (((Zpos (XO (XO (XO (XO (XI (XI
+    XH))))))) :: ((Zpos (XI (XI (XI (XI (XO (XI XH))))))) :: ((Zpos (XI (XI
+    (XO (XO (XI (XI XH))))))) :: []))) :: (((Zpos (XO (XO (XO (XO (XI (XI
+    XH))))))) :: ((Zpos (XI (XO (XI (XO (XI (XI XH))))))) :: ((Zpos (XO (XO
+    (XI (XO (XI (XI XH))))))) :: []))) :: (((Zpos (XO (XO (XO (XO (XI (XI
+    XH))))))) :: ((Zpos (XO (XI (XO (XO (XI (XI XH))))))) :: ((Zpos (XI (XO
+    (XO (XI (XO (XI XH))))))) :: ((Zpos (XO (XI (XI (XI (XO (XI
+    XH))))))) :: ((Zpos (XO (XO (XI (XO (XI (XI
+    XH))))))) :: []))))) :: (((Zpos (XI (XI (XO (XO (XI (XI
+    XH))))))) :: ((Zpos (XI (XO (XI (XO (XO (XI XH))))))) :: ((Zpos (XI (XO
+    (XO (XO (XO (XI XH))))))) :: ((Zpos (XO (XI (XO (XO (XI (XI
+    XH))))))) :: ((Zpos (XI (XI (XO (XO (XO (XI XH))))))) :: ((Zpos (XO (XO
+    (XO (XI (XO (XI
+    XH))))))) :: [])))))) :: [])))))))))))))))))))))))))))))))))))))))))
+
+(** val prefix_ci : str -> str -> bool **)
+
+let rec prefix_ci n s =
+  match n with
+  | [] -> true
+  | a :: n' ->
+    (match s with
+     | [] -> false
+     | c :: s' -> (&&) (Z.eqb (lower c) a) (prefix_ci n' s'))
+
+(** val first_match : str list -> str -> nat option **)
+
+let rec first_match names s =
+  match names with
+  | [] -> None
+  | n :: r -> if prefix_ci n s then Some (length n) else first_match r s
+
+(** val is_colon_plus : z -> bool **)
+
+let is_colon_plus c =
+  (||) (Z.eqb c cOLON) (Z.eqb c pLUS)
+
+(** val find_exec : str -> nat option **)
+
+let rec find_exec = function
+| [] -> None
+| c :: t0 ->
+  if is_colon_plus c
+  then (match first_match exec_names t0 with
+        | Some n -> Some (S n)
+        | None -> option_map (fun x -> S x) (find_exec t0))
+  else option_map (fun x -> S x) (find_exec t0)
+
+(** val find_close_from : z -> str -> nat option **)
+
+let rec find_close_from ce = function
+| [] -> None
+| c :: t0 ->
+  if (&&) (Z.eqb c ce)
+       (match t0 with
+        | [] -> true
+        | d :: _ -> (||) (Z.eqb d pLUS) (Z.eqb d cOMMA))
+  then Some (S O)
+  else option_map (fun x -> S x) (find_close_from ce t0)
+
+(** val find_close : z -> str -> nat option **)
+
+let find_close ce = function
+| [] -> None
+| _ :: t0 -> option_map (fun x -> S x) (find_close_from ce t0)
+
+(** val blanks : nat -> str **)
+
+let blanks n =
+  repeat sPACE n
+
+(** val mask_loop : nat -> str -> str res **)
+
+let rec mask_loop fuel action0 =
+  match fuel with
+  | O -> Err OutOfFuel
+  | S f ->
+    (match find_exec action0 with
+     | Some e ->
+       let pre = firstn e action0 in
+       let rest = skipn e action0 in
+       (match rest with
+        | [] -> Ok pre
+        | c :: _ ->
+          if Z.eqb c cOLON
+          then Ok (app pre (blanks (length rest)))
+          else (match closer_of c with
+                | Some ce ->
+                  (match find_close ce rest with
+                   | Some n ->
+                     bind (mask_loop f (skipn n rest)) (fun m -> Ok
+                       (app pre (app (blanks n) m)))
+                   | None -> Ok (app pre rest))
+                | None -> bind (mask_loop f rest) (fun m -> Ok (app pre m))))
+     | None -> Ok action0)
+
+(** val rep2 : z -> z -> z -> z -> str -> str **)
+
+let rec rep2 a c x y s = match s with
+| [] -> s
+| c1 :: t1 ->
+  (match t1 with
+   | [] -> s
+   | c2 :: t0 ->
+     if (&&) (Z.eqb c1 a) (Z.eqb c2 c)
+     then x :: (y :: (rep2 a c x y t0))
+     else c1 :: (rep2 a c x y t1))
+
+(** val rep3 : z -> z -> z -> z -> z -> z -> str -> str **)
+
+let rec rep3 a c d x y z0 s = match s with
+| [] -> s
+| c1 :: t1 ->
+  (match t1 with
+   | [] -> s
+   | c2 :: t2 ->
+     (match t2 with
+      | [] -> s
+      | c3 :: t0 ->
+        if (&&) ((&&) (Z.eqb c1 a) (Z.eqb c2 c)) (Z.eqb c3 d)
+        then x :: (y :: (z0 :: (rep3 a c d x y z0 t0)))
+        else c1 :: (rep3 a c d x y z0 t1)))
+
+(** val eSC_COLON : z **)
+
+let eSC_COLON =
+  Z0
+
+(** val eSC_COMMA : z **)
+
+let eSC_COMMA =
+  Zpos XH
+
+(** val eSC_PLUS : z **)
+
+let eSC_PLUS =
+  Zpos (XO XH)
+
+(** val escapes : str -> str **)
+
+let escapes m =
+  let m0 = rep3 cOMMA cOMMA cOMMA cOMMA eSC_COMMA cOMMA m in
+  let m1 = rep3 cOMMA cOLON cOMMA cOMMA eSC_COLON cOMMA m0 in
+  let m2 = rep2 cOLON cOLON eSC_COLON cOLON m1 in
+  let m3 = rep2 cOMMA cOLON eSC_COMMA cOLON m2 in
+  rep2 pLUS cOLON eSC_PLUS cOLON m3
+
+(** val mask_action_contents : str -> str res **)
+
+let mask_action_contents action0 =
+  bind (mask_loop (S (length action0)) action0) (fun m -> Ok (escapes m))
+
+(** val s_alt_comma : str **)
+
+let s_alt_comma =
+  (Zpos (XI (XO (XO (XO (XO (XI XH))))))) :: ((Zpos (XO (XO (XI (XI (XO (XI
+    XH))))))) :: ((Zpos (XO (XO (XI (XO (XI (XI XH))))))) :: ((Zpos (XI (XO
+    (XI (XI (XO XH)))))) :: ((Zpos (XO (XO (XI (XI (XO XH)))))) :: []))))
+
+(** val s_put : str **)
+
+let s_put =
+  (Zpos (XO (XO (XO (XO (XI (XI XH))))))) :: ((Zpos (XI (XO (XI (XO (XI (XI
+    XH))))))) :: ((Zpos (XO (XO (XI (XO (XI (XI XH))))))) :: []))
+
+(** val s_change_multi : str **)
+
+let s_change_multi =
+  (Zpos (XI (XI (XO (XO (XO (XI XH))))))) :: ((Zpos (XO (XO (XO (XI (XO (XI
+    XH))))))) :: ((Zpos (XI (XO (XO (XO (XO (XI XH))))))) :: ((Zpos (XO (XI
+    (XI (XI (XO (XI XH))))))) :: ((Zpos (XI (XI (XI (XO (XO (XI
+    XH))))))) :: ((Zpos (XI (XO (XI (XO (XO (XI XH))))))) :: ((Zpos (XI (XO
+    (XI (XI (XO XH)))))) :: ((Zpos (XI (XO (XI (XI (XO (XI
+    XH))))))) :: ((Zpos (XI (XO (XI (XO (XI (XI XH))))))) :: ((Zpos (XO (XO
+    (XI (XI (XO (XI XH))))))) :: ((Zpos (XO (XO (XI (XO (XI (XI
+    XH))))))) :: ((Zpos (XI (XO (XO (XI (XO (XI XH))))))) :: [])))))))))))
+
+(** val key_arg_actions : str list **)
+
+let key_arg_actions =
+  ((Zpos (XI (XO (XI (XO (XI (XI XH))))))) :: ((Zpos (XO (XI (XI (XI (XO (XI
+    XH))))))) :: ((Zpos (XO (XI (XO (XO (XO (XI XH))))))) :: ((Zpos (XI (XO
+    (XO (XI (XO (XI XH))))))) :: ((Zpos (XO (XI (XI (XI (XO (XI
+    XH))))))) :: ((Zpos (XO (XO (XI (XO (XO (XI
+    XH))))))) :: [])))))) :: (((Zpos (XO (XI (XO (XO (XI (XI
+    XH))))))) :: ((Zpos (XI (XO (XI (XO (XO (XI XH))))))) :: ((Zpos (XO (XI
+    (XO (XO (XO (XI XH))))))) :: ((Zpos (XI (XO (XO (XI (XO (XI
+    XH))))))) :: ((Zpos (XO (XI (XI (XI (XO (XI XH))))))) :: ((Zpos (XO (XO
+    (XI (XO (XO (XI XH))))))) :: [])))))) :: (((Zpos (XO (XO (XI (XO (XI (XI
+    XH))))))) :: ((Zpos (XI (XI (XI (XI (XO (XI XH))))))) :: ((Zpos (XI (XI
+    (XI (XO (XO (XI XH))))))) :: ((Zpos (XI (XI (XI (XO (XO (XI
+    XH))))))) :: ((Zpos (XO (XO (XI (XI (XO (XI XH))))))) :: ((Zpos (XI (XO
+    (XI (XO (XO (XI XH))))))) :: ((Zpos (XI (XO (XI (XI (XO
+    XH)))))) :: ((Zpos (XO (XI (XO (XO (XO (XI XH))))))) :: ((Zpos (XI (XO
+    (XO (XI (XO (XI XH))))))) :: ((Zpos (XO (XI (XI (XI (XO (XI
+    XH))))))) :: ((Zpos (XO (XO (XI (XO (XO (XI
+    XH))))))) :: []))))))))))) :: []))
+
+(** val alt_comma : nat -> str -> str **)
+
+let rec alt_comma fuel s =
+  match fuel with
+  | O -> s
+  | S f ->
+    (match s with
+     | [] -> []
+     | c :: t0 ->
+       if prefix_ci s_alt_comma s
+       then app (firstn (S (S (S (S O)))) s)
+              (eSC_COMMA :: (alt_comma f (skipn (S (S (S (S (S O))))) s)))
+       else c :: (alt_comma f t0))
+
+(** val contains : str -> str -> bool **)
+
+let rec contains p s = match s with
+| [] -> (match p with
+         | [] -> true
+         | _ :: _ -> false)
+| _ :: t0 -> (||) (has_prefix p s) (contains p t0)
+
+(** val has_suffix : str -> str -> bool **)
+
+let has_suffix p s =
+  has_prefix (rev p) (rev s)
+
+(** val key_of_masked_token : str -> key option **)
+
+let key_of_masked_token tok =
+  let tok0 = map (fun c -> if Z.eqb c eSC_COMMA then cOMMA else c) tok in
+  let tok1 =
+    match tok0 with
+    | [] -> tok0
+    | a :: l ->
+      (match l with
+       | [] -> tok0
+       | c :: l0 ->
+         (match l0 with
+          | [] -> tok0
+          | d :: l1 ->
+            (match l1 with
+             | [] -> tok0
+             | e :: l2 ->
+               (match l2 with
+                | [] -> tok0
+                | r :: l3 ->
+                  (match l3 with
+                   | [] ->
+                     if has_prefix s_alt (to_lower tok0)
+                     then a :: (c :: (d :: (e :: ((if Z.eqb r eSC_COLON
+                                                   then cOLON
+                                                   else if Z.eqb r eSC_PLUS
+                                                        then pLUS
+                                                        else r) :: []))))
+                     else tok0
+                   | _ :: _ -> tok0)))))
+  in
+  key_of_token tok1
+
+(** val add_key : key -> key list -> key list **)
+
+let rec add_key k l = match l with
+| [] -> k :: []
+| x :: r -> if key_eqb k x then l else x :: (add_key k r)
+
+(** val chords_loop : str list -> key list -> key list outcome **)
+
+let rec chords_loop toks acc =
+  match toks with
+  | [] -> Good acc
+  | t0 :: r ->
+    (match t0 with
+     | [] -> chords_loop r acc
+     | _ :: _ ->
+       (match key_of_masked_token t0 with
+        | Some k -> chords_loop r (add_key k acc)
+        | None -> Bad e_UNSUPPORTED_KEY))
+
+(** val parse_key_chords : str -> key list outcome **)
+
+let parse_key_chords s = match s with
+| [] -> Bad e_KEY_REQUIRED
+| _ :: _ ->
+  let s0 = alt_comma (length s) s in
+  let toks = split_on cOMMA s0 in
+  let toks0 =
+    if (||)
+         ((||)
+           ((||) (str_eqb s0 (cOMMA :: []))
+             (has_prefix (cOMMA :: (cOMMA :: [])) s0))
+           (has_suffix (cOMMA :: (cOMMA :: [])) s0))
+         (contains (cOMMA :: (cOMMA :: (cOMMA :: []))) s0)
+    then app toks ((cOMMA :: []) :: [])
+    else toks
+  in
+  chords_loop toks0 []
+
+(** val is_name_char : z -> bool **)
+
+let is_name_char c =
+  (||) ((||) (is_lower c) (is_upper c)) (Z.eqb c dASH)
+
+(** val take_while : (z -> bool) -> str -> str **)
+
+let rec take_while p = function
+| [] -> []
+| c :: r -> if p c then c :: (take_while p r) else []
+
+(** val name_prefix : str -> str **)
+
+let name_prefix s =
+  take_while is_name_char s
+
+(** val switch_table : (str * str list) list **)
+
+let switch_table =
+  (((Zpos (XO (XO (XO (XO (XI (XI XH))))))) :: ((Zpos (XI (XO (XI (XO (XI (XI
+    XH))))))) :: ((Zpos (XO (XO (XI (XO (XI (XI XH))))))) :: []))), (((Zpos
+    (XI (XI (XO (XO (XO (XI XH))))))) :: ((Zpos (XO (XO (XO (XI (XO (XI
+    XH))))))) :: ((Zpos (XI (XO (XO (XO (XO (XI XH))))))) :: ((Zpos (XO (XI
+    (XO (XO (XI (XI XH))))))) :: [])))) :: [])) :: ((((Zpos (XI (XO (XO (XI
+    (XO (XI XH))))))) :: ((Zpos (XI (XI (XI (XO (XO (XI XH))))))) :: ((Zpos
+    (XO (XI (XI (XI (XO (XI XH))))))) :: ((Zpos (XI (XI (XI (XI (XO (XI
+    XH))))))) :: ((Zpos (XO (XI (XO (XO (XI (XI XH))))))) :: ((Zpos (XI (XO
+    (XI (XO (XO (XI XH))))))) :: [])))))), (((Zpos (XI (XO (XO (XI (XO (XI
+    XH))))))) :: ((Zpos (XI (XI (XI (XO (XO (XI XH))))))) :: ((Zpos (XO (XI
+    (XI (XI (XO (XI XH))))))) :: ((Zpos (XI (XI (XI (XI (XO (XI
+    XH))))))) :: ((Zpos (XO (XI (XO (XO (XI (XI XH))))))) :: ((Zpos (XI (XO
+    (XI (XO (XO (XI XH))))))) :: [])))))) :: [])) :: ((((Zpos (XO (XI (XO (XO
+    (XO (XI XH))))))) :: ((Zpos (XI (XO (XI (XO (XO (XI XH))))))) :: ((Zpos
+    (XI (XI (XI (XO (XO (XI XH))))))) :: ((Zpos (XI (XO (XO (XI (XO (XI
+    XH))))))) :: ((Zpos (XO (XI (XI (XI (XO (XI XH))))))) :: ((Zpos (XO (XI
+    (XI (XI (XO (XI XH))))))) :: ((Zpos (XI (XO (XO (XI (XO (XI
+    XH))))))) :: ((Zpos (XO (XI (XI (XI (XO (XI XH))))))) :: ((Zpos (XI (XI
+    (XI (XO (XO (XI XH))))))) :: ((Zpos (XI (XO (XI (XI (XO
+    XH)))))) :: ((Zpos (XI (XI (XI (XI (XO (XI XH))))))) :: ((Zpos (XO (XI
+    (XI (XO (XO (XI XH))))))) :: ((Zpos (XI (XO (XI (XI (XO
+    XH)))))) :: ((Zpos (XO (XO (XI (XI (XO (XI XH))))))) :: ((Zpos (XI (XO
+    (XO (XI (XO (XI XH))))))) :: ((Zpos (XO (XI (XI (XI (XO (XI
+    XH))))))) :: ((Zpos (XI (XO (XI (XO (XO (XI
+    XH))))))) :: []))))))))))))))))), (((Zpos (XO (XI (XO (XO (XO (XI
+    XH))))))) :: ((Zpos (XI (XO (XI (XO (XO (XI XH))))))) :: ((Zpos (XI (XI
+    (XI (XO (XO (XI XH))))))) :: ((Zpos (XI (XO (XO (XI (XO (XI
+    XH))))))) :: ((Zpos (XO (XI (XI (XI (XO (XI XH))))))) :: ((Zpos (XO (XI
+    (XI (XI (XO (XI XH))))))) :: ((Zpos (XI (XO (XO (XI (XO (XI
+    XH))))))) :: ((Zpos (XO (XI (XI (XI (XO (XI XH))))))) :: ((Zpos (XI (XI
+    (XI (XO (XO (XI XH))))))) :: ((Zpos (XI (XO (XI (XI (XO
+    XH)))))) :: ((Zpos (XI (XI (XI (XI (XO (XI XH))))))) :: ((Zpos (XO (XI
+    (XI (XO (XO (XI XH))))))) :: ((Zpos (XI (XO (XI (XI (XO
+    XH)))))) :: ((Zpos (XO (XO (XI (XI (XO (XI XH))))))) :: ((Zpos (XI (XO
+    (XO (XI (XO (XI XH))))))) :: ((Zpos (XO (XI (XI (XI (XO (XI
+    XH))))))) :: ((Zpos (XI (XO (XI (XO (XO (XI
+    XH))))))) :: []))))))))))))))))) :: [])) :: ((((Zpos (XI (XO (XO (XO (XO
+    (XI XH))))))) :: ((Zpos (XO (XI (XO (XO (XO (XI XH))))))) :: ((Zpos (XI
+    (XI (XI (XI (XO (XI XH))))))) :: ((Zpos (XO (XI (XO (XO (XI (XI
+    XH))))))) :: ((Zpos (XO (XO (XI (XO (XI (XI XH))))))) :: []))))), (((Zpos
+    (XI (XO (XO (XO (XO (XI XH))))))) :: ((Zpos (XO (XI (XO (XO (XO (XI
+    XH))))))) :: ((Zpos (XI (XI (XI (XI (XO (XI XH))))))) :: ((Zpos (XO (XI
+    (XO (XO (XI (XI XH))))))) :: ((Zpos (XO (XO (XI (XO (XI (XI
+    XH))))))) :: []))))) :: [])) :: ((((Zpos (XI (XO (XO (XO (XO (XI
+    XH))))))) :: ((Zpos (XI (XI (XO (XO (XO (XI XH))))))) :: ((Zpos (XI (XI
+    (XO (XO (XO (XI XH))))))) :: ((Zpos (XI (XO (XI (XO (XO (XI
+    XH))))))) :: ((Zpos (XO (XO (XO (XO (XI (XI XH))))))) :: ((Zpos (XO (XO
+    (XI (XO (XI (XI XH))))))) :: [])))))), (((Zpos (XI (XO (XO (XO (XO (XI
+    XH))))))) :: ((Zpos (XI (XI (XO (XO (XO (XI XH))))))) :: ((Zpos (XI (XI
+    (XO (XO (XO (XI XH))))))) :: ((Zpos (XI (XO (XI (XO (XO (XI
+    XH))))))) :: ((Zpos (XO (XO (XO (XO (XI (XI XH))))))) :: ((Zpos (XO (XO
+    (XI (XO (XI (XI XH))))))) :: [])))))) :: [])) :: ((((Zpos (XI (XO (XO (XO
+    (XO (XI XH))))))) :: ((Zpos (XI (XI (XO (XO (XO (XI XH))))))) :: ((Zpos
+    (XI (XI (XO (XO (XO (XI XH))))))) :: ((Zpos (XI (XO (XI (XO (XO (XI
+    XH))))))) :: ((Zpos (XO (XO (XO (XO (XI (XI XH))))))) :: ((Zpos (XO (XO
+    (XI (XO (XI (XI XH))))))) :: ((Zpos (XI (XO (XI (XI (XO
+    XH)))))) :: ((Zpos (XO (XI (XI (XI (XO (XI XH))))))) :: ((Zpos (XI (XI
+    (XI (XI (XO (XI XH))))))) :: ((Zpos (XO (XI (XI (XI (XO (XI
+    XH))))))) :: ((Zpos (XI (XO (XI (XI (XO XH)))))) :: ((Zpos (XI (XO (XI
+    (XO (XO (XI XH))))))) :: ((Zpos (XI (XO (XI (XI (XO (XI
+    XH))))))) :: ((Zpos (XO (XO (XO (XO (XI (XI XH))))))) :: ((Zpos (XO (XO
+    (XI (XO (XI (XI XH))))))) :: ((Zpos (XI (XO (XO (XI (XI (XI
+    XH))))))) :: [])))))))))))))))), (((Zpos (XI (XO (XO (XO (XO (XI
+    XH))))))) :: ((Zpos (XI (XI (XO (XO (XO (XI XH))))))) :: ((Zpos (XI (XI
+    (XO (XO (XO (XI XH))))))) :: ((Zpos (XI (XO (XI (XO (XO (XI
+    XH))))))) :: ((Zpos (XO (XO (XO (XO (XI (XI XH))))))) :: ((Zpos (XO (XO
+    (XI (XO (XI (XI XH))))))) :: ((Zpos (XI (XO (XI (XI (XO
+    XH)))))) :: ((Zpos (XO (XI (XI (XI (XO (XI XH))))))) :: ((Zpos (XI (XI
+    (XI (XI (XO (XI XH))))))) :: ((Zpos (XO (XI (XI (XI (XO (XI
+    XH))))))) :: ((Zpos (XI (XO (XI (XI (XO XH)))))) :: ((Zpos (XI (XO (XI
+    (XO (XO (XI XH))))))) :: ((Zpos (XI (XO (XI (XI (XO (XI
+    XH))))))) :: ((Zpos (XO (XO (XO (XO (XI (XI XH))))))) :: ((Zpos (XO (XO
+    (XI (XO (XI (XI XH))))))) :: ((Zpos (XI (XO (XO (XI (XI (XI
+    XH))))))) :: [])))))))))))))))) :: [])) :: ((((Zpos (XI (XO (XO (XO (XO
+    (XI XH))))))) :: ((Zpos (XI (XI (XO (XO (XO (XI XH))))))) :: ((Zpos (XI
+    (XI (XO (XO (XO (XI XH))))))) :: ((Zpos (XI (XO (XI (XO (XO (XI
+    XH))))))) :: ((Zpos (XO (XO (XO (XO (XI (XI XH))))))) :: ((Zpos (XO (XO
+    (XI (XO (XI (XI XH))))))) :: ((Zpos (XI (XO (XI (XI (XO
+    XH)))))) :: ((Zpos (XI (XI (XI (XI (XO (XI XH))))))) :: ((Zpos (XO (XI
+    (XO (XO (XI (XI XH))))))) :: ((Zpos (XI (XO (XI (XI (XO
+    XH)))))) :: ((Zpos (XO (XO (XO (XO (XI (XI XH))))))) :: ((Zpos (XO (XI
+    (XO (XO (XI (XI XH))))))) :: ((Zpos (XI (XO (XO (XI (XO (XI
+    XH))))))) :: ((Zpos (XO (XI (XI (XI (XO (XI XH))))))) :: ((Zpos (XO (XO
+    (XI (XO (XI (XI XH))))))) :: ((Zpos (XI (XO (XI (XI (XO
+    XH)))))) :: ((Zpos (XI (XO (XO (XO (XI (XI XH))))))) :: ((Zpos (XI (XO
+    (XI (XO (XI (XI XH))))))) :: ((Zpos (XI (XO (XI (XO (XO (XI
+    XH))))))) :: ((Zpos (XO (XI (XO (XO (XI (XI XH))))))) :: ((Zpos (XI (XO
+    (XO (XI (XI (XI XH))))))) :: []))))))))))))))))))))), (((Zpos (XI (XO (XO
+    (XO (XO (XI XH))))))) :: ((Zpos (XI (XI (XO (XO (XO (XI
+    XH))))))) :: ((Zpos (XI (XI (XO (XO (XO (XI XH))))))) :: ((Zpos (XI (XO
+    (XI (XO (XO (XI XH))))))) :: ((Zpos (XO (XO (XO (XO (XI (XI
+    XH))))))) :: ((Zpos (XO (XO (XI (XO (XI (XI XH))))))) :: ((Zpos (XI (XO
+    (XI (XI (XO XH)))))) :: ((Zpos (XI (XI (XI (XI (XO (XI
+    XH))))))) :: ((Zpos (XO (XI (XO (XO (XI (XI XH))))))) :: ((Zpos (XI (XO
+    (XI (XI (XO XH)))))) :: ((Zpos (XO (XO (XO (XO (XI (XI
+    XH))))))) :: ((Zpos (XO (XI (XO (XO (XI (XI XH))))))) :: ((Zpos (XI (XO
+    (XO (XI (XO (XI XH))))))) :: ((Zpos (XO (XI (XI (XI (XO (XI
+    XH))))))) :: ((Zpos (XO (XO (XI (XO (XI (XI XH))))))) :: ((Zpos (XI (XO
+    (XI (XI (XO XH)))))) :: ((Zpos (XI (XO (XO (XO (XI (XI
+    XH))))))) :: ((Zpos (XI (XO (XI (XO (XI (XI XH))))))) :: ((Zpos (XI (XO
+    (XI (XO (XO (XI XH))))))) :: ((Zpos (XO (XI (XO (XO (XI (XI
+    XH))))))) :: ((Zpos (XI (XO (XO (XI (XI (XI
+    XH))))))) :: []))))))))))))))))))))) :: [])) :: ((((Zpos (XO (XO (XO (XO
+    (XI (XI XH))))))) :: ((Zpos (XO (XI (XO (XO (XI (XI XH))))))) :: ((Zpos
+    (XI (XO (XO (XI (XO (XI XH))))))) :: ((Zpos (XO (XI (XI (XI (XO (XI
+    XH))))))) :: ((Zpos (XO (XO (XI (XO (XI (XI XH))))))) :: ((Zpos (XI (XO
+    (XI (XI (XO XH)))))) :: ((Zpos (XI (XO (XO (XO (XI (XI
+    XH))))))) :: ((Zpos (XI (XO (XI (XO (XI (XI XH))))))) :: ((Zpos (XI (XO
+    (XI (XO (XO (XI XH))))))) :: ((Zpos (XO (XI (XO (XO (XI (XI
+    XH))))))) :: ((Zpos (XI (XO (XO (XI (XI (XI XH))))))) :: []))))))))))),
+    (((Zpos (XO (XO (XO (XO (XI (XI XH))))))) :: ((Zpos (XO (XI (XO (XO (XI
+    (XI XH))))))) :: ((Zpos (XI (XO (XO (XI (XO (XI XH))))))) :: ((Zpos (XO
+    (XI (XI (XI (XO (XI XH))))))) :: ((Zpos (XO (XO (XI (XO (XI (XI
+    XH))))))) :: ((Zpos (XI (XO (XI (XI (XO XH)))))) :: ((Zpos (XI (XO (XO
+    (XO (XI (XI XH))))))) :: ((Zpos (XI (XO (XI (XO (XI (XI
+    XH))))))) :: ((Zpos (XI (XO (XI (XO (XO (XI XH))))))) :: ((Zpos (XO (XI
+    (XO (XO (XI (XI XH))))))) :: ((Zpos (XI (XO (XO (XI (XI (XI
+    XH))))))) :: []))))))))))) :: [])) :: ((((Zpos (XO (XI (XO (XO (XI (XI
+    XH))))))) :: ((Zpos (XI (XO (XI (XO (XO (XI XH))))))) :: ((Zpos (XO (XI
+    (XI (XO (XO (XI XH))))))) :: ((Zpos (XO (XI (XO (XO (XI (XI
+    XH))))))) :: ((Zpos (XI (XO (XI (XO (XO (XI XH))))))) :: ((Zpos (XI (XI
+    (XO (XO (XI (XI XH))))))) :: ((Zpos (XO (XO (XO (XI (XO (XI
+    XH))))))) :: ((Zpos (XI (XO (XI (XI (XO XH)))))) :: ((Zpos (XO (XO (XO
+    (XO (XI (XI XH))))))) :: ((Zpos (XO (XI (XO (XO (XI (XI
+    XH))))))) :: ((Zpos (XI (XO (XI (XO (XO (XI XH))))))) :: ((Zpos (XO (XI
+    (XI (XO (XI (XI XH))))))) :: ((Zpos (XI (XO (XO (XI (XO (XI
+    XH))))))) :: ((Zpos (XI (XO (XI (XO (XO (XI XH))))))) :: ((Zpos (XI (XI
+    (XI (XO (XI (XI XH))))))) :: []))))))))))))))), (((Zpos (XO (XI (XO (XO
+    (XI (XI XH))))))) :: ((Zpos (XI (XO (XI (XO (XO (XI XH))))))) :: ((Zpos
+    (XO (XI (XI (XO (XO (XI XH))))))) :: ((Zpos (XO (XI (XO (XO (XI (XI
+    XH))))))) :: ((Zpos (XI (XO (XI (XO (XO (XI XH))))))) :: ((Zpos (XI (XI
+    (XO (XO (XI (XI XH))))))) :: ((Zpos (XO (XO (XO (XI (XO (XI
+    XH))))))) :: ((Zpos (XI (XO (XI (XI (XO XH)))))) :: ((Zpos (XO (XO (XO
+    (XO (XI (XI XH))))))) :: ((Zpos (XO (XI (XO (XO (XI (XI
+    XH))))))) :: ((Zpos (XI (XO (XI (XO (XO (XI XH))))))) :: ((Zpos (XO (XI
+    (XI (XO (XI (XI XH))))))) :: ((Zpos (XI (XO (XO (XI (XO (XI
+    XH))))))) :: ((Zpos (XI (XO (XI (XO (XO (XI XH))))))) :: ((Zpos (XI (XI
+    (XI (XO (XI (XI XH))))))) :: []))))))))))))))) :: [])) :: ((((Zpos (XO
+    (XI (XO (XO (XI (XI XH))))))) :: ((Zpos (XI (XO (XI (XO (XO (XI
+    XH))))))) :: ((Zpos (XO (XO (XO (XO (XI (XI XH))))))) :: ((Zpos (XO (XO
+    (XI (XI (XO (XI XH))))))) :: ((Zpos (XI (XO (XO (XO (XO (XI
+    XH))))))) :: ((Zpos (XI (XI (XO (XO (XO (XI XH))))))) :: ((Zpos (XI (XO
+    (XI (XO (XO (XI XH))))))) :: ((Zpos (XI (XO (XI (XI (XO
+    XH)))))) :: ((Zpos (XI (XO (XO (XO (XI (XI XH))))))) :: ((Zpos (XI (XO
+    (XI (XO (XI (XI XH))))))) :: ((Zpos (XI (XO (XI (XO (XO (XI
+    XH))))))) :: ((Zpos (XO (XI (XO (XO (XI (XI XH))))))) :: ((Zpos (XI (XO
+    (XO (XI (XI (XI XH))))))) :: []))))))))))))), (((Zpos (XO (XI (XO (XO (XI
+    (XI XH))))))) :: ((Zpos (XI (XO (XI (XO (XO (XI XH))))))) :: ((Zpos (XO
+    (XO (XO (XO (XI (XI XH))))))) :: ((Zpos (XO (XO (XI (XI (XO (XI
+    XH))))))) :: ((Zpos (XI (XO (XO (XO (XO (XI XH))))))) :: ((Zpos (XI (XI
+    (XO (XO (XO (XI XH))))))) :: ((Zpos (XI (XO (XI (XO (XO (XI
+    XH))))))) :: ((Zpos (XI (XO (XI (XI (XO XH)))))) :: ((Zpos (XI (XO (XO
+    (XO (XI (XI XH))))))) :: ((Zpos (XI (XO (XI (XO (XI (XI
+    XH))))))) :: ((Zpos (XI (XO (XI (XO (XO (XI XH))))))) :: ((Zpos (XO (XI
+    (XO (XO (XI (XI XH))))))) :: ((Zpos (XI (XO (XO (XI (XI (XI
+    XH))))))) :: []))))))))))))) :: [])) :: ((((Zpos (XO (XI (XO (XO (XO (XI
+    XH))))))) :: ((Zpos (XI (XO (XO (XO (XO (XI XH))))))) :: ((Zpos (XI (XI
+    (XO (XO (XO (XI XH))))))) :: ((Zpos (XI (XI (XO (XI (XO (XI
+    XH))))))) :: ((Zpos (XI (XI (XI (XO (XI (XI XH))))))) :: ((Zpos (XI (XO
+    (XO (XO (XO (XI XH))))))) :: ((Zpos (XO (XI (XO (XO (XI (XI
+    XH))))))) :: ((Zpos (XO (XO (XI (XO (XO (XI XH))))))) :: ((Zpos (XI (XO
+    (XI (XI (XO XH)))))) :: ((Zpos (XI (XI (XO (XO (XO (XI
+    XH))))))) :: ((Zpos (XO (XO (XO (XI (XO (XI XH))))))) :: ((Zpos (XI (XO
+    (XO (XO (XO (XI XH))))))) :: ((Zpos (XO (XI (XO (XO (XI (XI
+    XH))))))) :: []))))))))))))), (((Zpos (XO (XI (XO (XO (XO (XI
+    XH))))))) :: ((Zpos (XI (XO (XO (XO (XO (XI XH))))))) :: ((Zpos (XI (XI
+    (XO (XO (XO (XI XH))))))) :: ((Zpos (XI (XI (XO (XI (XO (XI
+    XH))))))) :: ((Zpos (XI (XI (XI (XO (XI (XI XH))))))) :: ((Zpos (XI (XO
+    (XO (XO (XO (XI XH))))))) :: ((Zpos (XO (XI (XO (XO (XI (XI
+    XH))))))) :: ((Zpos (XO (XO (XI (XO (XO (XI XH))))))) :: ((Zpos (XI (XO
+    (XI (XI (XO XH)))))) :: ((Zpos (XI (XI (XO (XO (XO (XI
+    XH))))))) :: ((Zpos (XO (XO (XO (XI (XO (XI XH))))))) :: ((Zpos (XI (XO
+    (XO (XO (XO (XI XH))))))) :: ((Zpos (XO (XI (XO (XO (XI (XI
+    XH))))))) :: []))))))))))))) :: [])) :: ((((Zpos (XO (XI (XO (XO (XO (XI
+    XH))))))) :: ((Zpos (XI (XO (XO (XO (XO (XI XH))))))) :: ((Zpos (XI (XI
+    (XO (XO (XO (XI XH))))))) :: ((Zpos (XI (XI (XO (XI (XO (XI
+    XH))))))) :: ((Zpos (XI (XI (XI (XO (XI (XI XH))))))) :: ((Zpos (XI (XO
+    (XO (XO (XO (XI XH))))))) :: ((Zpos (XO (XI (XO (XO (XI (XI
+    XH))))))) :: ((Zpos (XO (XO (XI (XO (XO (XI XH))))))) :: ((Zpos (XI (XO
+    (XI (XI (XO XH)))))) :: ((Zpos (XO (XO (XI (XO (XO (XI
+    XH))))))) :: ((Zpos (XI (XO (XI (XO (XO (XI XH))))))) :: ((Zpos (XO (XO
+    (XI (XI (XO (XI XH))))))) :: ((Zpos (XI (XO (XI (XO (XO (XI
+    XH))))))) :: ((Zpos (XO (XO (XI (XO (XI (XI XH))))))) :: ((Zpos (XI (XO
+    (XI (XO (XO (XI XH))))))) :: ((Zpos (XI (XO (XI (XI (XO
+    XH)))))) :: ((Zpos (XI (XI (XO (XO (XO (XI XH))))))) :: ((Zpos (XO (XO
+    (XO (XI (XO (XI XH))))))) :: ((Zpos (XI (XO (XO (XO (XO (XI
+    XH))))))) :: ((Zpos (XO (XI (XO (XO (XI (XI
+    XH))))))) :: [])))))))))))))))))))), (((Zpos (XO (XI (XO (XO (XO (XI
+    XH))))))) :: ((Zpos (XI (XO (XO (XO (XO (XI XH))))))) :: ((Zpos (XI (XI
+    (XO (XO (XO (XI XH))))))) :: ((Zpos (XI (XI (XO (XI (XO (XI
+    XH))))))) :: ((Zpos (XI (XI (XI (XO (XI (XI XH))))))) :: ((Zpos (XI (XO
+    (XO (XO (XO (XI XH))))))) :: ((Zpos (XO (XI (XO (XO (XI (XI
+    XH))))))) :: ((Zpos (XO (XO (XI (XO (XO (XI XH))))))) :: ((Zpos (XI (XO
+    (XI (XI (XO XH)))))) :: ((Zpos (XO (XO (XI (XO (XO (XI
+    XH))))))) :: ((Zpos (XI (XO (XI (XO (XO (XI XH))))))) :: ((Zpos (XO (XO
+    (XI (XI (XO (XI XH))))))) :: ((Zpos (XI (XO (XI (XO (XO (XI
+    XH))))))) :: ((Zpos (XO (XO (XI (XO (XI (XI XH))))))) :: ((Zpos (XI (XO
+    (XI (XO (XO (XI XH))))))) :: ((Zpos (XI (XO (XI (XI (XO
+    XH)))))) :: ((Zpos (XI (XI (XO (XO (XO (XI XH))))))) :: ((Zpos (XO (XO
+    (XO (XI (XO (XI XH))))))) :: ((Zpos (XI (XO (XO (XO (XO (XI
+    XH))))))) :: ((Zpos (XO (XI (XO (XO (XI (XI
+    XH))))))) :: [])))))))))))))))))))) :: [])) :: ((((Zpos (XO (XI (XO (XO
+    (XO (XI XH))))))) :: ((Zpos (XI (XO (XO (XO (XO (XI XH))))))) :: ((Zpos
+    (XI (XI (XO (XO (XO (XI XH))))))) :: ((Zpos (XI (XI (XO (XI (XO (XI
+    XH))))))) :: ((Zpos (XI (XI (XI (XO (XI (XI XH))))))) :: ((Zpos (XI (XO
+    (XO (XO (XO (XI XH))))))) :: ((Zpos (XO (XI (XO (XO (XI (XI
+    XH))))))) :: ((Zpos (XO (XO (XI (XO (XO (XI XH))))))) :: ((Zpos (XI (XO
+    (XI (XI (XO XH)))))) :: ((Zpos (XO (XO (XI (XO (XO (XI
+    XH))))))) :: ((Zpos (XI (XO (XI (XO (XO (XI XH))))))) :: ((Zpos (XO (XO
+    (XI (XI (XO (XI XH))))))) :: ((Zpos (XI (XO (XI (XO (XO (XI
+    XH))))))) :: ((Zpos (XO (XO (XI (XO (XI (XI XH))))))) :: ((Zpos (XI (XO
+    (XI (XO (XO (XI XH))))))) :: ((Zpos (XI (XO (XI (XI (XO
+    XH)))))) :: ((Zpos (XI (XI (XO (XO (XO (XI XH))))))) :: ((Zpos (XO (XO
+    (XO (XI (XO (XI XH))))))) :: ((Zpos (XI (XO (XO (XO (XO (XI
+    XH))))))) :: ((Zpos (XO (XI (XO (XO (XI (XI XH))))))) :: ((Zpos (XI (XI
+    (XI (XI (XO XH)))))) :: ((Zpos (XI (XO (XI (XO (XO (XI
+    XH))))))) :: ((Zpos (XI (XI (XI (XI (XO (XI XH))))))) :: ((Zpos (XO (XI
+    (XI (XO (XO (XI XH))))))) :: [])))))))))))))))))))))))), (((Zpos (XO (XI
+    (XO (XO (XO (XI XH))))))) :: ((Zpos (XI (XO (XO (XO (XO (XI
+    XH))))))) :: ((Zpos (XI (XI (XO (XO (XO (XI XH))))))) :: ((Zpos (XI (XI
+    (XO (XI (XO (XI XH))))))) :: ((Zpos (XI (XI (XI (XO (XI (XI
+    XH))))))) :: ((Zpos (XI (XO (XO (XO (XO (XI XH))))))) :: ((Zpos (XO (XI
+    (XO (XO (XI (XI XH))))))) :: ((Zpos (XO (XO (XI (XO (XO (XI
+    XH))))))) :: ((Zpos (XI (XO (XI (XI (XO XH)))))) :: ((Zpos (XO (XO (XI
+    (XO (XO (XI XH))))))) :: ((Zpos (XI (XO (XI (XO (XO (XI
+    XH))))))) :: ((Zpos (XO (XO (XI (XI (XO (XI XH))))))) :: ((Zpos (XI (XO
+    (XI (XO (XO (XI XH))))))) :: ((Zpos (XO (XO (XI (XO (XI (XI
+    XH))))))) :: ((Zpos (XI (XO (XI (XO (XO (XI XH))))))) :: ((Zpos (XI (XO
+    (XI (XI (XO XH)))))) :: ((Zpos (XI (XI (XO (XO (XO (XI
+    XH))))))) :: ((Zpos (XO (XO (XO (XI (XO (XI XH))))))) :: ((Zpos (XI (XO
+    (XO (XO (XO (XI XH))))))) :: ((Zpos (XO (XI (XO (XO (XI (XI
+    XH))))))) :: ((Zpos (XI (XO (XI (XI (XO XH)))))) :: ((Zpos (XI (XO (XI
+    (XO (XO (XI XH))))))) :: ((Zpos (XI (XI (XI (XI (XO (XI
+    XH))))))) :: ((Zpos (XO (XI (XI (XO (XO (XI
+    XH))))))) :: [])))))))))))))))))))))))) :: [])) :: ((((Zpos (XO (XI (XO
+    (XO (XO (XI XH))))))) :: ((Zpos (XI (XO (XO (XO (XO (XI
+    XH))))))) :: ((Zpos (XI (XI (XO (XO (XO (XI XH))))))) :: ((Zpos (XI (XI
+    (XO (XI (XO (XI XH))))))) :: ((Zpos (XI (XI (XI (XO (XI (XI
+    XH))))))) :: ((Zpos (XI (XO (XO (XO (XO (XI XH))))))) :: ((Zpos (XO (XI
+    (XO (XO (XI (XI XH))))))) :: ((Zpos (XO (XO (XI (XO (XO (XI
+    XH))))))) :: ((Zpos (XI (XO (XI (XI (XO XH)))))) :: ((Zpos (XI (XI (XI
+    (XO (XI (XI XH))))))) :: ((Zpos (XI (XI (XI (XI (XO (XI
+    XH))))))) :: ((Zpos (XO (XI (XO (XO (XI (XI XH))))))) :: ((Zpos (XO (XO
+    (XI (XO (XO (XI XH))))))) :: []))))))))))))), (((Zpos (XO (XI (XO (XO (XO
+    (XI XH))))))) :: ((Zpos (XI (XO (XO (XO (XO (XI XH))))))) :: ((Zpos (XI
+    (XI (XO (XO (XO (XI XH))))))) :: ((Zpos (XI (XI (XO (XI (XO (XI
+    XH))))))) :: ((Zpos (XI (XI (XI (XO (XI (XI XH))))))) :: ((Zpos (XI (XO
+    (XO (XO (XO (XI XH))))))) :: ((Zpos (XO (XI (XO (XO (XI (XI
+    XH))))))) :: ((Zpos (XO (XO (XI (XO (XO (XI XH))))))) :: ((Zpos (XI (XO
+    (XI (XI (XO XH)))))) :: ((Zpos (XI (XI (XI (XO (XI (XI
+    XH))))))) :: ((Zpos (XI (XI (XI (XI (XO (XI XH))))))) :: ((Zpos (XO (XI
+    (XO (XO (XI (XI XH))))))) :: ((Zpos (XO (XO (XI (XO (XO (XI
+    XH))))))) :: []))))))))))))) :: [])) :: ((((Zpos (XI (XI (XO (XO (XO (XI
+    XH))))))) :: ((Zpos (XO (XO (XI (XI (XO (XI XH))))))) :: ((Zpos (XI (XO
+    (XI (XO (XO (XI XH))))))) :: ((Zpos (XI (XO (XO (XO (XO (XI
+    XH))))))) :: ((Zpos (XO (XI (XO (XO (XI (XI XH))))))) :: ((Zpos (XI (XO
+    (XI (XI (XO XH)))))) :: ((Zpos (XI (XI (XO (XO (XI (XI
+    XH))))))) :: ((Zpos (XI (XI (XO (XO (XO (XI XH))))))) :: ((Zpos (XO (XI
+    (XO (XO (XI (XI XH))))))) :: ((Zpos (XI (XO (XI (XO (XO (XI
+    XH))))))) :: ((Zpos (XI (XO (XI (XO (XO (XI XH))))))) :: ((Zpos (XO (XI
+    (XI (XI (XO (XI XH))))))) :: [])))))))))))), (((Zpos (XI (XI (XO (XO (XO
+    (XI XH))))))) :: ((Zpos (XO (XO (XI (XI (XO (XI XH))))))) :: ((Zpos (XI
+    (XO (XI (XO (XO (XI XH))))))) :: ((Zpos (XI (XO (XO (XO (XO (XI
+    XH))))))) :: ((Zpos (XO (XI (XO (XO (XI (XI XH))))))) :: ((Zpos (XI (XO
+    (XI (XI (XO XH)))))) :: ((Zpos (XI (XI (XO (XO (XI (XI
+    XH))))))) :: ((Zpos (XI (XI (XO (XO (XO (XI XH))))))) :: ((Zpos (XO (XI
+    (XO (XO (XI (XI XH))))))) :: ((Zpos (XI (XO (XI (XO (XO (XI
+    XH))))))) :: ((Zpos (XI (XO (XI (XO (XO (XI XH))))))) :: ((Zpos (XO (XI
+    (XI (XI (XO (XI XH))))))) :: [])))))))))))) :: [])) :: ((((Zpos (XO (XO
+    (XI (XO (XO (XI XH))))))) :: ((Zpos (XI (XO (XI (XO (XO (XI
+    XH))))))) :: ((Zpos (XO (XO (XI (XI (XO (XI XH))))))) :: ((Zpos (XI (XO
+    (XI (XO (XO (XI XH))))))) :: ((Zpos (XO (XO (XI (XO (XI (XI
+    XH))))))) :: ((Zpos (XI (XO (XI (XO (XO (XI XH))))))) :: ((Zpos (XI (XO
+    (XI (XI (XO XH)))))) :: ((Zpos (XI (XI (XO (XO (XO (XI
+    XH))))))) :: ((Zpos (XO (XO (XO (XI (XO (XI XH))))))) :: ((Zpos (XI (XO
+    (XO (XO (XO (XI XH))))))) :: ((Zpos (XO (XI (XO (XO (XI (XI
+    XH))))))) :: []))))))))))), (((Zpos (XO (XO (XI (XO (XO (XI
+    XH))))))) :: ((Zpos (XI (XO (XI (XO (XO (XI XH))))))) :: ((Zpos (XO (XO
+    (XI (XI (XO (XI XH))))))) :: ((Zpos (XI (XO (XI (XO (XO (XI
+    XH))))))) :: ((Zpos (XO (XO (XI (XO (XI (XI XH))))))) :: ((Zpos (XI (XO
+    (XI (XO (XO (XI XH))))))) :: ((Zpos (XI (XO (XI (XI (XO
+    XH)))))) :: ((Zpos (XI (XI (XO (XO (XO (XI XH))))))) :: ((Zpos (XO (XO
+    (XO (XI (XO (XI XH))))))) :: ((Zpos (XI (XO (XO (XO (XO (XI
+    XH))))))) :: ((Zpos (XO (XI (XO (XO (XI (XI
+    XH))))))) :: []))))))))))) :: [])) :: ((((Zpos (XO (XO (XI (XO (XO (XI
+    XH))))))) :: ((Zpos (XI (XO (XI (XO (XO (XI XH))))))) :: ((Zpos (XO (XO
+    (XI (XI (XO (XI XH))))))) :: ((Zpos (XI (XO (XI (XO (XO (XI
+    XH))))))) :: ((Zpos (XO (XO (XI (XO (XI (XI XH))))))) :: ((Zpos (XI (XO
+    (XI (XO (XO (XI XH))))))) :: ((Zpos (XI (XO (XI (XI (XO
+    XH)))))) :: ((Zpos (XI (XI (XO (XO (XO (XI XH))))))) :: ((Zpos (XO (XO
+    (XO (XI (XO (XI XH))))))) :: ((Zpos (XI (XO (XO (XO (XO (XI
+    XH))))))) :: ((Zpos (XO (XI (XO (XO (XI (XI XH))))))) :: ((Zpos (XI (XI
+    (XI (XI (XO XH)))))) :: ((Zpos (XI (XO (XI (XO (XO (XI
+    XH))))))) :: ((Zpos (XI (XI (XI (XI (XO (XI XH))))))) :: ((Zpos (XO (XI
+    (XI (XO (XO (XI XH))))))) :: []))))))))))))))), (((Zpos (XO (XO (XI (XO
+    (XO (XI XH))))))) :: ((Zpos (XI (XO (XI (XO (XO (XI XH))))))) :: ((Zpos
+    (XO (XO (XI (XI (XO (XI XH))))))) :: ((Zpos (XI (XO (XI (XO (XO (XI
+    XH))))))) :: ((Zpos (XO (XO (XI (XO (XI (XI XH))))))) :: ((Zpos (XI (XO
+    (XI (XO (XO (XI XH))))))) :: ((Zpos (XI (XO (XI (XI (XO
+    XH)))))) :: ((Zpos (XI (XI (XO (XO (XO (XI XH))))))) :: ((Zpos (XO (XO
+    (XO (XI (XO (XI XH))))))) :: ((Zpos (XI (XO (XO (XO (XO (XI
+    XH))))))) :: ((Zpos (XO (XI (XO (XO (XI (XI XH))))))) :: ((Zpos (XI (XO
+    (XI (XI (XO XH)))))) :: ((Zpos (XI (XO (XI (XO (XO (XI
+    XH))))))) :: ((Zpos (XI (XI (XI (XI (XO (XI XH))))))) :: ((Zpos (XO (XI
+    (XI (XO (XO (XI XH))))))) :: []))))))))))))))) :: [])) :: ((((Zpos (XO
+    (XO (XI (XO (XO (XI XH))))))) :: ((Zpos (XI (XO (XI (XO (XO (XI
+    XH))))))) :: ((Zpos (XI (XI (XO (XO (XI (XI XH))))))) :: ((Zpos (XI (XO
+    (XI (XO (XO (XI XH))))))) :: ((Zpos (XO (XO (XI (XI (XO (XI
+    XH))))))) :: ((Zpos (XI (XO (XI (XO (XO (XI XH))))))) :: ((Zpos (XI (XI
+    (XO (XO (XO (XI XH))))))) :: ((Zpos (XO (XO (XI (XO (XI (XI
+    XH))))))) :: [])))))))), (((Zpos (XO (XO (XI (XO (XO (XI
+    XH))))))) :: ((Zpos (XI (XO (XI (XO (XO (XI XH))))))) :: ((Zpos (XI (XI
+    (XO (XO (XI (XI XH))))))) :: ((Zpos (XI (XO (XI (XO (XO (XI
+    XH))))))) :: ((Zpos (XO (XO (XI (XI (XO (XI XH))))))) :: ((Zpos (XI (XO
+    (XI (XO (XO (XI XH))))))) :: ((Zpos (XI (XI (XO (XO (XO (XI
+    XH))))))) :: ((Zpos (XO (XO (XI (XO (XI (XI
+    XH))))))) :: [])))))))) :: [])) :: ((((Zpos (XI (XO (XI (XO (XO (XI
+    XH))))))) :: ((Zpos (XO (XI (XI (XI (XO (XI XH))))))) :: ((Zpos (XO (XO
+    (XI (XO (XO (XI XH))))))) :: ((Zpos (XI (XO (XI (XI (XO
+    XH)))))) :: ((Zpos (XI (XI (XI (XI (XO (XI XH))))))) :: ((Zpos (XO (XI
+    (XI (XO (XO (XI XH))))))) :: ((Zpos (XI (XO (XI (XI (XO
+    XH)))))) :: ((Zpos (XO (XO (XI (XI (XO (XI XH))))))) :: ((Zpos (XI (XO
+    (XO (XI (XO (XI XH))))))) :: ((Zpos (XO (XI (XI (XI (XO (XI
+    XH))))))) :: ((Zpos (XI (XO (XI (XO (XO (XI XH))))))) :: []))))))))))),
+    (((Zpos (XI (XO (XI (XO (XO (XI XH))))))) :: ((Zpos (XO (XI (XI (XI (XO
+    (XI XH))))))) :: ((Zpos (XO (XO (XI (XO (XO (XI XH))))))) :: ((Zpos (XI
+    (XO (XI (XI (XO XH)))))) :: ((Zpos (XI (XI (XI (XI (XO (XI
+    XH))))))) :: ((Zpos (XO (XI (XI (XO (XO (XI XH))))))) :: ((Zpos (XI (XO
+    (XI (XI (XO XH)))))) :: ((Zpos (XO (XO (XI (XI (XO (XI
+    XH))))))) :: ((Zpos (XI (XO (XO (XI (XO (XI XH))))))) :: ((Zpos (XO (XI
+    (XI (XI (XO (XI XH))))))) :: ((Zpos (XI (XO (XI (XO (XO (XI
+    XH))))))) :: []))))))))))) :: [])) :: ((((Zpos (XI (XI (XO (XO (XO (XI
+    XH))))))) :: ((Zpos (XI (XO (XO (XO (XO (XI XH))))))) :: ((Zpos (XO (XI
+    (XI (XI (XO (XI XH))))))) :: ((Zpos (XI (XI (XO (XO (XO (XI
+    XH))))))) :: ((Zpos (XI (XO (XI (XO (XO (XI XH))))))) :: ((Zpos (XO (XO
+    (XI (XI (XO (XI XH))))))) :: [])))))), (((Zpos (XI (XI (XO (XO (XO (XI
+    XH))))))) :: ((Zpos (XI (XO (XO (XO (XO (XI XH))))))) :: ((Zpos (XO (XI
+    (XI (XI (XO (XI XH))))))) :: ((Zpos (XI (XI (XO (XO (XO (XI
+    XH))))))) :: ((Zpos (XI (XO (XI (XO (XO (XI XH))))))) :: ((Zpos (XO (XO
+    (XI (XI (XO (XI XH))))))) :: [])))))) :: [])) :: ((((Zpos (XI (XI (XO (XO
+    (XO (XI XH))))))) :: ((Zpos (XO (XO (XI (XI (XO (XI XH))))))) :: ((Zpos
+    (XI (XO (XI (XO (XO (XI XH))))))) :: ((Zpos (XI (XO (XO (XO (XO (XI
+    XH))))))) :: ((Zpos (XO (XI (XO (XO (XI (XI XH))))))) :: ((Zpos (XI (XO
+    (XI (XI (XO XH)))))) :: ((Zpos (XI (XO (XO (XO (XI (XI
+    XH))))))) :: ((Zpos (XI (XO (XI (XO (XI (XI XH))))))) :: ((Zpos (XI (XO
+    (XI (XO (XO (XI XH))))))) :: ((Zpos (XO (XI (XO (XO (XI (XI
+    XH))))))) :: ((Zpos (XI (XO (XO (XI (XI (XI XH))))))) :: []))))))))))),
+    (((Zpos (XI (XI (XO (XO (XO (XI XH))))))) :: ((Zpos (XO (XO (XI (XI (XO
+    (XI XH))))))) :: ((Zpos (XI (XO (XI (XO (XO (XI XH))))))) :: ((Zpos (XI
+    (XO (XO (XO (XO (XI XH))))))) :: ((Zpos (XO (XI (XO (XO (XI (XI
+    XH))))))) :: ((Zpos (XI (XO (XI (XI (XO XH)))))) :: ((Zpos (XI (XO (XO
+    (XO (XI (XI XH))))))) :: ((Zpos (XI (XO (XI (XO (XI (XI
+    XH))))))) :: ((Zpos (XI (XO (XI (XO (XO (XI XH))))))) :: ((Zpos (XO (XI
+    (XO (XO (XI (XI XH))))))) :: ((Zpos (XI (XO (XO (XI (XI (XI
+    XH))))))) :: []))))))))))) :: [])) :: ((((Zpos (XI (XI (XO (XO (XO (XI
+    XH))))))) :: ((Zpos (XO (XO (XI (XI (XO (XI XH))))))) :: ((Zpos (XI (XO
+    (XI (XO (XO (XI XH))))))) :: ((Zpos (XI (XO (XO (XO (XO (XI
+    XH))))))) :: ((Zpos (XO (XI (XO (XO (XI (XI XH))))))) :: ((Zpos (XI (XO
+    (XI (XI (XO XH)))))) :: ((Zpos (XI (XI (XO (XO (XI (XI
+    XH))))))) :: ((Zpos (XI (XO (XI (XO (XO (XI XH))))))) :: ((Zpos (XO (XO
+    (XI (XI (XO (XI XH))))))) :: ((Zpos (XI (XO (XI (XO (XO (XI
+    XH))))))) :: ((Zpos (XI (XI (XO (XO (XO (XI XH))))))) :: ((Zpos (XO (XO
+    (XI (XO (XI (XI XH))))))) :: ((Zpos (XI (XO (XO (XI (XO (XI
+    XH))))))) :: ((Zpos (XI (XI (XI (XI (XO (XI XH))))))) :: ((Zpos (XO (XI
+    (XI (XI (XO (XI XH))))))) :: []))))))))))))))), (((Zpos (XI (XI (XO (XO
+    (XO (XI XH))))))) :: ((Zpos (XO (XO (XI (XI (XO (XI XH))))))) :: ((Zpos
+    (XI (XO (XI (XO (XO (XI XH))))))) :: ((Zpos (XI (XO (XO (XO (XO (XI
+    XH))))))) :: ((Zpos (XO (XI (XO (XO (XI (XI XH))))))) :: ((Zpos (XI (XO
+    (XI (XI (XO XH)))))) :: ((Zpos (XI (XI (XO (XO (XI (XI
+    XH))))))) :: ((Zpos (XI (XO (XI (XO (XO (XI XH))))))) :: ((Zpos (XO (XO
+    (XI (XI (XO (XI XH))))))) :: ((Zpos (XI (XO (XI (XO (XO (XI
+    XH))))))) :: ((Zpos (XI (XI (XO (XO (XO (XI XH))))))) :: ((Zpos (XO (XO
+    (XI (XO (XI (XI XH))))))) :: ((Zpos (XI (XO (XO (XI (XO (XI
+    XH))))))) :: ((Zpos (XI (XI (XI (XI (XO (XI XH))))))) :: ((Zpos (XO (XI
+    (XI (XI (XO (XI XH))))))) :: []))))))))))))))) :: [])) :: ((((Zpos (XO
+    (XI (XI (XO (XO (XI XH))))))) :: ((Zpos (XI (XI (XI (XI (XO (XI
+    XH))))))) :: ((Zpos (XO (XI (XO (XO (XI (XI XH))))))) :: ((Zpos (XI (XI
+    (XI (XO (XI (XI XH))))))) :: ((Zpos (XI (XO (XO (XO (XO (XI
+    XH))))))) :: ((Zpos (XO (XI (XO (XO (XI (XI XH))))))) :: ((Zpos (XO (XO
+    (XI (XO (XO (XI XH))))))) :: ((Zpos (XI (XO (XI (XI (XO
+    XH)))))) :: ((Zpos (XI (XI (XO (XO (XO (XI XH))))))) :: ((Zpos (XO (XO
+    (XO (XI (XO (XI XH))))))) :: ((Zpos (XI (XO (XO (XO (XO (XI
+    XH))))))) :: ((Zpos (XO (XI (XO (XO (XI (XI XH))))))) :: [])))))))))))),
+    (((Zpos (XO (XI (XI (XO (XO (XI XH))))))) :: ((Zpos (XI (XI (XI (XI (XO
+    (XI XH))))))) :: ((Zpos (XO (XI (XO (XO (XI (XI XH))))))) :: ((Zpos (XI
+    (XI (XI (XO (XI (XI XH))))))) :: ((Zpos (XI (XO (XO (XO (XO (XI
+    XH))))))) :: ((Zpos (XO (XI (XO (XO (XI (XI XH))))))) :: ((Zpos (XO (XO
+    (XI (XO (XO (XI XH))))))) :: ((Zpos (XI (XO (XI (XI (XO
+    XH)))))) :: ((Zpos (XI (XI (XO (XO (XO (XI XH))))))) :: ((Zpos (XO (XO
+    (XO (XI (XO (XI XH))))))) :: ((Zpos (XI (XO (XO (XO (XO (XI
+    XH))))))) :: ((Zpos (XO (XI (XO (XO (XI (XI
+    XH))))))) :: [])))))))))))) :: [])) :: ((((Zpos (XO (XI (XI (XO (XO (XI
+    XH))))))) :: ((Zpos (XI (XI (XI (XI (XO (XI XH))))))) :: ((Zpos (XO (XI
+    (XO (XO (XI (XI XH))))))) :: ((Zpos (XI (XI (XI (XO (XI (XI
+    XH))))))) :: ((Zpos (XI (XO (XO (XO (XO (XI XH))))))) :: ((Zpos (XO (XI
+    (XO (XO (XI (XI XH))))))) :: ((Zpos (XO (XO (XI (XO (XO (XI
+    XH))))))) :: ((Zpos (XI (XO (XI (XI (XO XH)))))) :: ((Zpos (XI (XI (XI
+    (XO (XI (XI XH))))))) :: ((Zpos (XI (XI (XI (XI (XO (XI
+    XH))))))) :: ((Zpos (XO (XI (XO (XO (XI (XI XH))))))) :: ((Zpos (XO (XO
+    (XI (XO (XO (XI XH))))))) :: [])))))))))))), (((Zpos (XO (XI (XI (XO (XO
+    (XI XH))))))) :: ((Zpos (XI (XI (XI (XI (XO (XI XH))))))) :: ((Zpos (XO
+    (XI (XO (XO (XI (XI XH))))))) :: ((Zpos (XI (XI (XI (XO (XI (XI
+    XH))))))) :: ((Zpos (XI (XO (XO (XO (XO (XI XH))))))) :: ((Zpos (XO (XI
+    (XO (XO (XI (XI XH))))))) :: ((Zpos (XO (XO (XI (XO (XO (XI
+    XH))))))) :: ((Zpos (XI (XO (XI (XI (XO XH)))))) :: ((Zpos (XI (XI (XI
+    (XO (XI (XI XH))))))) :: ((Zpos (XI (XI (XI (XI (XO (XI
+    XH))))))) :: ((Zpos (XO (XI (XO (XO (XI (XI XH))))))) :: ((Zpos (XO (XO
+    (XI (XO (XO (XI XH))))))) :: [])))))))))))) :: [])) :: ((((Zpos (XO (XI
+    (XO (XI (XO (XI XH))))))) :: ((Zpos (XI (XO (XI (XO (XI (XI
+    XH))))))) :: ((Zpos (XI (XO (XI (XI (XO (XI XH))))))) :: ((Zpos (XO (XO
+    (XO (XO (XI (XI XH))))))) :: [])))), (((Zpos (XO (XI (XO (XI (XO (XI
+    XH))))))) :: ((Zpos (XI (XO (XI (XO (XI (XI XH))))))) :: ((Zpos (XI (XO
+    (XI (XI (XO (XI XH))))))) :: ((Zpos (XO (XO (XO (XO (XI (XI
+    XH))))))) :: [])))) :: [])) :: ((((Zpos (XO (XI (XO (XI (XO (XI
+    XH))))))) :: ((Zpos (XI (XO (XI (XO (XI (XI XH))))))) :: ((Zpos (XI (XO
+    (XI (XI (XO (XI XH))))))) :: ((Zpos (XO (XO (XO (XO (XI (XI
+    XH))))))) :: ((Zpos (XI (XO (XI (XI (XO XH)))))) :: ((Zpos (XI (XO (XO
+    (XO (XO (XI XH))))))) :: ((Zpos (XI (XI (XO (XO (XO (XI
+    XH))))))) :: ((Zpos (XI (XI (XO (XO (XO (XI XH))))))) :: ((Zpos (XI (XO
+    (XI (XO (XO (XI XH))))))) :: ((Zpos (XO (XO (XO (XO (XI (XI
+    XH))))))) :: ((Zpos (XO (XO (XI (XO (XI (XI XH))))))) :: []))))))))))),
+    (((Zpos (XO (XI (XO (XI (XO (XI XH))))))) :: ((Zpos (XI (XO (XI (XO (XI
+    (XI XH))))))) :: ((Zpos (XI (XO (XI (XI (XO (XI XH))))))) :: ((Zpos (XO
+    (XO (XO (XO (XI (XI XH))))))) :: ((Zpos (XI (XO (XI (XI (XO
+    XH)))))) :: ((Zpos (XI (XO (XO (XO (XO (XI XH))))))) :: ((Zpos (XI (XI
+    (XO (XO (XO (XI XH))))))) :: ((Zpos (XI (XI (XO (XO (XO (XI
+    XH))))))) :: ((Zpos (XI (XO (XI (XO (XO (XI XH))))))) :: ((Zpos (XO (XO
+    (XO (XO (XI (XI XH))))))) :: ((Zpos (XO (XO (XI (XO (XI (XI
+    XH))))))) :: []))))))))))) :: [])) :: ((((Zpos (XI (XI (XO (XI (XO (XI
+    XH))))))) :: ((Zpos (XI (XO (XO (XI (XO (XI XH))))))) :: ((Zpos (XO (XO
+    (XI (XI (XO (XI XH))))))) :: ((Zpos (XO (XO (XI (XI (XO (XI
+    XH))))))) :: ((Zpos (XI (XO (XI (XI (XO XH)))))) :: ((Zpos (XO (XO (XI
+    (XI (XO (XI XH))))))) :: ((Zpos (XI (XO (XO (XI (XO (XI
+    XH))))))) :: ((Zpos (XO (XI (XI (XI (XO (XI XH))))))) :: ((Zpos (XI (XO
+    (XI (XO (XO (XI XH))))))) :: []))))))))), (((Zpos (XI (XI (XO (XI (XO (XI
+    XH))))))) :: ((Zpos (XI (XO (XO (XI (XO (XI XH))))))) :: ((Zpos (XO (XO
+    (XI (XI (XO (XI XH))))))) :: ((Zpos (XO (XO (XI (XI (XO (XI
+    XH))))))) :: ((Zpos (XI (XO (XI (XI (XO XH)))))) :: ((Zpos (XO (XO (XI
+    (XI (XO (XI XH))))))) :: ((Zpos (XI (XO (XO (XI (XO (XI
+    XH))))))) :: ((Zpos (XO (XI (XI (XI (XO (XI XH))))))) :: ((Zpos (XI (XO
+    (XI (XO (XO (XI XH))))))) :: []))))))))) :: [])) :: ((((Zpos (XI (XI (XO
+    (XI (XO (XI XH))))))) :: ((Zpos (XI (XO (XO (XI (XO (XI
+    XH))))))) :: ((Zpos (XO (XO (XI (XI (XO (XI XH))))))) :: ((Zpos (XO (XO
+    (XI (XI (XO (XI XH))))))) :: ((Zpos (XI (XO (XI (XI (XO
+    XH)))))) :: ((Zpos (XI (XI (XI (XO (XI (XI XH))))))) :: ((Zpos (XI (XI
+    (XI (XI (XO (XI XH))))))) :: ((Zpos (XO (XI (XO (XO (XI (XI
+    XH))))))) :: ((Zpos (XO (XO (XI (XO (XO (XI XH))))))) :: []))))))))),
+    (((Zpos (XI (XI (XO (XI (XO (XI XH))))))) :: ((Zpos (XI (XO (XO (XI (XO
+    (XI XH))))))) :: ((Zpos (XO (XO (XI (XI (XO (XI XH))))))) :: ((Zpos (XO
+    (XO (XI (XI (XO (XI XH))))))) :: ((Zpos (XI (XO (XI (XI (XO
+    XH)))))) :: ((Zpos (XI (XI (XI (XO (XI (XI XH))))))) :: ((Zpos (XI (XI
+    (XI (XI (XO (XI XH))))))) :: ((Zpos (XO (XI (XO (XO (XI (XI
+    XH))))))) :: ((Zpos (XO (XO (XI (XO (XO (XI
+    XH))))))) :: []))))))))) :: [])) :: ((((Zpos (XI (XO (XI (XO (XI (XI
+    XH))))))) :: ((Zpos (XO (XI (XI (XI (XO (XI XH))))))) :: ((Zpos (XI (XO
+    (XO (XI (XO (XI XH))))))) :: ((Zpos (XO (XO (XO (XI (XI (XI
+    XH))))))) :: ((Zpos (XI (XO (XI (XI (XO XH)))))) :: ((Zpos (XO (XO (XI
+    (XI (XO (XI XH))))))) :: ((Zpos (XI (XO (XO (XI (XO (XI
+    XH))))))) :: ((Zpos (XO (XI (XI (XI (XO (XI XH))))))) :: ((Zpos (XI (XO
+    (XI (XO (XO (XI XH))))))) :: ((Zpos (XI (XO (XI (XI (XO
+    XH)))))) :: ((Zpos (XO (XO (XI (XO (XO (XI XH))))))) :: ((Zpos (XI (XO
+    (XO (XI (XO (XI XH))))))) :: ((Zpos (XI (XI (XO (XO (XI (XI
+    XH))))))) :: ((Zpos (XI (XI (XO (XO (XO (XI XH))))))) :: ((Zpos (XI (XO
+    (XO (XO (XO (XI XH))))))) :: ((Zpos (XO (XI (XO (XO (XI (XI
+    XH))))))) :: ((Zpos (XO (XO (XI (XO (XO (XI
+    XH))))))) :: []))))))))))))))))), (((Zpos (XI (XO (XI (XO (XI (XI
+    XH))))))) :: ((Zpos (XO (XI (XI (XI (XO (XI XH))))))) :: ((Zpos (XI (XO
+    (XO (XI (XO (XI XH))))))) :: ((Zpos (XO (XO (XO (XI (XI (XI
+    XH))))))) :: ((Zpos (XI (XO (XI (XI (XO XH)))))) :: ((Zpos (XO (XO (XI
+    (XI (XO (XI XH))))))) :: ((Zpos (XI (XO (XO (XI (XO (XI
+    XH))))))) :: ((Zpos (XO (XI (XI (XI (XO (XI XH))))))) :: ((Zpos (XI (XO
+    (XI (XO (XO (XI XH))))))) :: ((Zpos (XI (XO (XI (XI (XO
+    XH)))))) :: ((Zpos (XO (XO (XI (XO (XO (XI XH))))))) :: ((Zpos (XI (XO
+    (XO (XI (XO (XI XH))))))) :: ((Zpos (XI (XI (XO (XO (XI (XI
+    XH))))))) :: ((Zpos (XI (XI (XO (XO (XO (XI XH))))))) :: ((Zpos (XI (XO
+    (XO (XO (XO (XI XH))))))) :: ((Zpos (XO (XI (XO (XO (XI (XI
+    XH))))))) :: ((Zpos (XO (XO (XI (XO (XO (XI
+    XH))))))) :: []))))))))))))))))) :: [])) :: ((((Zpos (XO (XO (XI (XI (XO
+    (XI XH))))))) :: ((Zpos (XI (XO (XO (XI (XO (XI XH))))))) :: ((Zpos (XO
+    (XI (XI (XI (XO (XI XH))))))) :: ((Zpos (XI (XO (XI (XO (XO (XI
+    XH))))))) :: ((Zpos (XI (XO (XI (XI (XO XH)))))) :: ((Zpos (XO (XO (XI
+    (XO (XO (XI XH))))))) :: ((Zpos (XI (XO (XO (XI (XO (XI
+    XH))))))) :: ((Zpos (XI (XI (XO (XO (XI (XI XH))))))) :: ((Zpos (XI (XI
+    (XO (XO (XO (XI XH))))))) :: ((Zpos (XI (XO (XO (XO (XO (XI
+    XH))))))) :: ((Zpos (XO (XI (XO (XO (XI (XI XH))))))) :: ((Zpos (XO (XO
+    (XI (XO (XO (XI XH))))))) :: [])))))))))))), (((Zpos (XI (XO (XI (XO (XI
+    (XI XH))))))) :: ((Zpos (XO (XI (XI (XI (XO (XI XH))))))) :: ((Zpos (XI
+    (XO (XO (XI (XO (XI XH))))))) :: ((Zpos (XO (XO (XO (XI (XI (XI
+    XH))))))) :: ((Zpos (XI (XO (XI (XI (XO XH)))))) :: ((Zpos (XO (XO (XI
+    (XI (XO (XI XH))))))) :: ((Zpos (XI (XO (XO (XI (XO (XI
+    XH))))))) :: ((Zpos (XO (XI (XI (XI (XO (XI XH))))))) :: ((Zpos (XI (XO
+    (XI (XO (XO (XI XH))))))) :: ((Zpos (XI (XO (XI (XI (XO
+    XH)))))) :: ((Zpos (XO (XO (XI (XO (XO (XI XH))))))) :: ((Zpos (XI (XO
+    (XO (XI (XO (XI XH))))))) :: ((Zpos (XI (XI (XO (XO (XI (XI
+    XH))))))) :: ((Zpos (XI (XI (XO (XO (XO (XI XH))))))) :: ((Zpos (XI (XO
+    (XO (XO (XO (XI XH))))))) :: ((Zpos (XO (XI (XO (XO (XI (XI
+    XH))))))) :: ((Zpos (XO (XO (XI (XO (XO (XI
+    XH))))))) :: []))))))))))))))))) :: [])) :: ((((Zpos (XI (XO (XI (XO (XI
+    (XI XH))))))) :: ((Zpos (XO (XI (XI (XI (XO (XI XH))))))) :: ((Zpos (XI
+    (XO (XO (XI (XO (XI XH))))))) :: ((Zpos (XO (XO (XO (XI (XI (XI
+    XH))))))) :: ((Zpos (XI (XO (XI (XI (XO XH)))))) :: ((Zpos (XI (XI (XI
+    (XO (XI (XI XH))))))) :: ((Zpos (XI (XI (XI (XI (XO (XI
+    XH))))))) :: ((Zpos (XO (XI (XO (XO (XI (XI XH))))))) :: ((Zpos (XO (XO
+    (XI (XO (XO (XI XH))))))) :: ((Zpos (XI (XO (XI (XI (XO
+    XH)))))) :: ((Zpos (XO (XI (XO (XO (XI (XI XH))))))) :: ((Zpos (XI (XO
+    (XI (XO (XI (XI XH))))))) :: ((Zpos (XO (XI (XO (XO (XO (XI
+    XH))))))) :: ((Zpos (XI (XI (XI (XI (XO (XI XH))))))) :: ((Zpos (XI (XO
+    (XI (XO (XI (XI XH))))))) :: ((Zpos (XO (XO (XI (XO (XI (XI
+    XH))))))) :: [])))))))))))))))), (((Zpos (XI (XO (XI (XO (XI (XI
+    XH))))))) :: ((Zpos (XO (XI (XI (XI (XO (XI XH))))))) :: ((Zpos (XI (XO
+    (XO (XI (XO (XI XH))))))) :: ((Zpos (XO (XO (XO (XI (XI (XI
+    XH))))))) :: ((Zpos (XI (XO (XI (XI (XO XH)))))) :: ((Zpos (XI (XI (XI
+    (XO (XI (XI XH))))))) :: ((Zpos (XI (XI (XI (XI (XO (XI
+    XH))))))) :: ((Zpos (XO (XI (XO (XO (XI (XI XH))))))) :: ((Zpos (XO (XO
+    (XI (XO (XO (XI XH))))))) :: ((Zpos (XI (XO (XI (XI (XO
+    XH)))))) :: ((Zpos (XO (XI (XO (XO (XI (XI XH))))))) :: ((Zpos (XI (XO
+    (XI (XO (XI (XI XH))))))) :: ((Zpos (XO (XI (XO (XO (XO (XI
+    XH))))))) :: ((Zpos (XI (XI (XI (XI (XO (XI XH))))))) :: ((Zpos (XI (XO
+    (XI (XO (XI (XI XH))))))) :: ((Zpos (XO (XO (XI (XO (XI (XI
+    XH))))))) :: [])))))))))))))))) :: [])) :: ((((Zpos (XI (XI (XI (XO (XI
+    (XI XH))))))) :: ((Zpos (XI (XI (XI (XI (XO (XI XH))))))) :: ((Zpos (XO
+    (XI (XO (XO (XI (XI XH))))))) :: ((Zpos (XO (XO (XI (XO (XO (XI
+    XH))))))) :: ((Zpos (XI (XO (XI (XI (XO XH)))))) :: ((Zpos (XO (XI (XO
+    (XO (XI (XI XH))))))) :: ((Zpos (XI (XO (XI (XO (XI (XI
+    XH))))))) :: ((Zpos (XO (XI (XO (XO (XO (XI XH))))))) :: ((Zpos (XI (XI
+    (XI (XI (XO (XI XH))))))) :: ((Zpos (XI (XO (XI (XO (XI (XI
+    XH))))))) :: ((Zpos (XO (XO (XI (XO (XI (XI XH))))))) :: []))))))))))),
+    (((Zpos (XI (XO (XI (XO (XI (XI XH))))))) :: ((Zpos (XO (XI (XI (XI (XO
+    (XI XH))))))) :: ((Zpos (XI (XO (XO (XI (XO (XI XH))))))) :: ((Zpos (XO
+    (XO (XO (XI (XI (XI XH))))))) :: ((Zpos (XI (XO (XI (XI (XO
+    XH)))))) :: ((Zpos (XI (XI (XI (XO (XI (XI XH))))))) :: ((Zpos (XI (XI
+    (XI (XI (XO (XI XH))))))) :: ((Zpos (XO (XI (XO (XO (XI (XI
+    XH))))))) :: ((Zpos (XO (XO (XI (XO (XO (XI XH))))))) :: ((Zpos (XI (XO
+    (XI (XI (XO XH)))))) :: ((Zpos (XO (XI (XO (XO (XI (XI
+    XH))))))) :: ((Zpos (XI (XO (XI (XO (XI (XI XH))))))) :: ((Zpos (XO (XI
+    (XO (XO (XO (XI XH))))))) :: ((Zpos (XI (XI (XI (XI (XO (XI
+    XH))))))) :: ((Zpos (XI (XO (XI (XO (XI (XI XH))))))) :: ((Zpos (XO (XO
+    (XI (XO (XI (XI XH))))))) :: [])))))))))))))))) :: [])) :: ((((Zpos (XI
+    (XO (XO (XI (XI (XI XH))))))) :: ((Zpos (XI (XO (XO (XO (XO (XI
+    XH))))))) :: ((Zpos (XO (XI (XI (XI (XO (XI XH))))))) :: ((Zpos (XI (XI
+    (XO (XI (XO (XI XH))))))) :: [])))), (((Zpos (XI (XO (XO (XI (XI (XI
+    XH))))))) :: ((Zpos (XI (XO (XO (XO (XO (XI XH))))))) :: ((Zpos (XO (XI
+    (XI (XI (XO (XI XH))))))) :: ((Zpos (XI (XI (XO (XI (XO (XI
+    XH))))))) :: [])))) :: [])) :: ((((Zpos (XO (XI (XO (XO (XO (XI
+    XH))))))) :: ((Zpos (XI (XO (XO (XO (XO (XI XH))))))) :: ((Zpos (XI (XI
+    (XO (XO (XO (XI XH))))))) :: ((Zpos (XI (XI (XO (XI (XO (XI
+    XH))))))) :: ((Zpos (XI (XI (XI (XO (XI (XI XH))))))) :: ((Zpos (XI (XO
+    (XO (XO (XO (XI XH))))))) :: ((Zpos (XO (XI (XO (XO (XI (XI
+    XH))))))) :: ((Zpos (XO (XO (XI (XO (XO (XI XH))))))) :: ((Zpos (XI (XO
+    (XI (XI (XO XH)))))) :: ((Zpos (XI (XI (XO (XI (XO (XI
+    XH))))))) :: ((Zpos (XI (XO (XO (XI (XO (XI XH))))))) :: ((Zpos (XO (XO
+    (XI (XI (XO (XI XH))))))) :: ((Zpos (XO (XO (XI (XI (XO (XI
+    XH))))))) :: ((Zpos (XI (XO (XI (XI (XO XH)))))) :: ((Zpos (XI (XI (XI
+    (XO (XI (XI XH))))))) :: ((Zpos (XI (XI (XI (XI (XO (XI
+    XH))))))) :: ((Zpos (XO (XI (XO (XO (XI (XI XH))))))) :: ((Zpos (XO (XO
+    (XI (XO (XO (XI XH))))))) :: [])))))))))))))))))), (((Zpos (XO (XI (XO
+    (XO (XO (XI XH))))))) :: ((Zpos (XI (XO (XO (XO (XO (XI
+    XH))))))) :: ((Zpos (XI (XI (XO (XO (XO (XI XH))))))) :: ((Zpos (XI (XI
+    (XO (XI (XO (XI XH))))))) :: ((Zpos (XI (XI (XI (XO (XI (XI
+    XH))))))) :: ((Zpos (XI (XO (XO (XO (XO (XI XH))))))) :: ((Zpos (XO (XI
+    (XO (XO (XI (XI XH))))))) :: ((Zpos (XO (XO (XI (XO (XO (XI
+    XH))))))) :: ((Zpos (XI (XO (XI (XI (XO XH)))))) :: ((Zpos (XI (XI (XO
+    (XI (XO (XI XH))))))) :: ((Zpos (XI (XO (XO (XI (XO (XI
+    XH))))))) :: ((Zpos (XO (XO (XI (XI (XO (XI XH))))))) :: ((Zpos (XO (XO
+    (XI (XI (XO (XI XH))))))) :: ((Zpos (XI (XO (XI (XI (XO
+    XH)))))) :: ((Zpos (XI (XI (XI (XO (XI (XI XH))))))) :: ((Zpos (XI (XI
+    (XI (XI (XO (XI XH))))))) :: ((Zpos (XO (XI (XO (XO (XI (XI
+    XH))))))) :: ((Zpos (XO (XO (XI (XO (XO (XI
+    XH))))))) :: [])))))))))))))))))) :: [])) :: ((((Zpos (XO (XO (XI (XO (XI
+    (XI XH))))))) :: ((Zpos (XI (XI (XI (XI (XO (XI XH))))))) :: ((Zpos (XI
+    (XI (XI (XO (XO (XI XH))))))) :: ((Zpos (XI (XI (XI (XO (XO (XI
+    XH))))))) :: ((Zpos (XO (XO (XI (XI (XO (XI XH))))))) :: ((Zpos (XI (XO
+    (XI (XO (XO (XI XH))))))) :: ((Zpos (XI (XO (XI (XI (XO
+    XH)))))) :: ((Zpos (XO (XO (XI (XO (XO (XI XH))))))) :: ((Zpos (XI (XI
+    (XI (XI (XO (XI XH))))))) :: ((Zpos (XI (XI (XI (XO (XI (XI
+    XH))))))) :: ((Zpos (XO (XI (XI (XI (XO (XI XH))))))) :: []))))))))))),
+    (((Zpos (XO (XO (XI (XO (XI (XI XH))))))) :: ((Zpos (XI (XI (XI (XI (XO
+    (XI XH))))))) :: ((Zpos (XI (XI (XI (XO (XO (XI XH))))))) :: ((Zpos (XI
+    (XI (XI (XO (XO (XI XH))))))) :: ((Zpos (XO (XO (XI (XI (XO (XI
+    XH))))))) :: ((Zpos (XI (XO (XI (XO (XO (XI
+    XH))))))) :: [])))))) :: (((Zpos (XO (XO (XI (XO (XO (XI
+    XH))))))) :: ((Zpos (XI (XI (XI (XI (XO (XI XH))))))) :: ((Zpos (XI (XI
+    (XI (XO (XI (XI XH))))))) :: ((Zpos (XO (XI (XI (XI (XO (XI
+    XH))))))) :: [])))) :: []))) :: ((((Zpos (XO (XO (XI (XO (XI (XI
+    XH))))))) :: ((Zpos (XI (XI (XI (XI (XO (XI XH))))))) :: ((Zpos (XI (XI
+    (XI (XO (XO (XI XH))))))) :: ((Zpos (XI (XI (XI (XO (XO (XI
+    XH))))))) :: ((Zpos (XO (XO (XI (XI (XO (XI XH))))))) :: ((Zpos (XI (XO
+    (XI (XO (XO (XI XH))))))) :: ((Zpos (XI (XO (XI (XI (XO
+    XH)))))) :: ((Zpos (XI (XO (XI (XO (XI (XI XH))))))) :: ((Zpos (XO (XO
+    (XO (XO (XI (XI XH))))))) :: []))))))))), (((Zpos (XO (XO (XI (XO (XI (XI
+    XH))))))) :: ((Zpos (XI (XI (XI (XI (XO (XI XH))))))) :: ((Zpos (XI (XI
+    (XI (XO (XO (XI XH))))))) :: ((Zpos (XI (XI (XI (XO (XO (XI
+    XH))))))) :: ((Zpos (XO (XO (XI (XI (XO (XI XH))))))) :: ((Zpos (XI (XO
+    (XI (XO (XO (XI XH))))))) :: [])))))) :: (((Zpos (XI (XO (XI (XO (XI (XI
+    XH))))))) :: ((Zpos (XO (XO (XO (XO (XI (XI
+    XH))))))) :: [])) :: []))) :: ((((Zpos (XO (XO (XI (XO (XI (XI
+    XH))))))) :: ((Zpos (XI (XI (XI (XI (XO (XI XH))))))) :: ((Zpos (XI (XI
+    (XI (XO (XO (XI XH))))))) :: ((Zpos (XI (XI (XI (XO (XO (XI
+    XH))))))) :: ((Zpos (XO (XO (XI (XI (XO (XI XH))))))) :: ((Zpos (XI (XO
+    (XI (XO (XO (XI XH))))))) :: ((Zpos (XI (XO (XI (XI (XO
+    XH)))))) :: ((Zpos (XI (XO (XO (XI (XO (XI XH))))))) :: ((Zpos (XO (XI
+    (XI (XI (XO (XI XH))))))) :: []))))))))), (((Zpos (XO (XO (XI (XO (XI (XI
+    XH))))))) :: ((Zpos (XI (XI (XI (XI (XO (XI XH))))))) :: ((Zpos (XI (XI
+    (XI (XO (XO (XI XH))))))) :: ((Zpos (XI (XI (XI (XO (XO (XI
+    XH))))))) :: ((Zpos (XO (XO (XI (XI (XO (XI XH))))))) :: ((Zpos (XI (XO
+    (XI (XO (XO (XI XH))))))) :: ((Zpos (XI (XO (XI (XI (XO
+    XH)))))) :: ((Zpos (XI (XO (XO (XI (XO (XI XH))))))) :: ((Zpos (XO (XI
+    (XI (XI (XO (XI XH))))))) :: []))))))))) :: [])) :: ((((Zpos (XO (XO (XI
+    (XO (XI (XI XH))))))) :: ((Zpos (XI (XI (XI (XI (XO (XI
+    XH))))))) :: ((Zpos (XI (XI (XI (XO (XO (XI XH))))))) :: ((Zpos (XI (XI
+    (XI (XO (XO (XI XH))))))) :: ((Zpos (XO (XO (XI (XI (XO (XI
+    XH))))))) :: ((Zpos (XI (XO (XI (XO (XO (XI XH))))))) :: ((Zpos (XI (XO
+    (XI (XI (XO XH)))))) :: ((Zpos (XI (XI (XI (XI (XO (XI
+    XH))))))) :: ((Zpos (XI (XO (XI (XO (XI (XI XH))))))) :: ((Zpos (XO (XO
+    (XI (XO (XI (XI XH))))))) :: [])))))))))), (((Zpos (XO (XO (XI (XO (XI
+    (XI XH))))))) :: ((Zpos (XI (XI (XI (XI (XO (XI XH))))))) :: ((Zpos (XI
+    (XI (XI (XO (XO (XI XH))))))) :: ((Zpos (XI (XI (XI (XO (XO (XI
+    XH))))))) :: ((Zpos (XO (XO (XI (XI (XO (XI XH))))))) :: ((Zpos (XI (XO
+    (XI (XO (XO (XI XH))))))) :: ((Zpos (XI (XO (XI (XI (XO
+    XH)))))) :: ((Zpos (XI (XI (XI (XI (XO (XI XH))))))) :: ((Zpos (XI (XO
+    (XI (XO (XI (XI XH))))))) :: ((Zpos (XO (XO (XI (XO (XI (XI
+    XH))))))) :: [])))))))))) :: [])) :: ((((Zpos (XO (XO (XI (XO (XI (XI
+    XH))))))) :: ((Zpos (XI (XI (XI (XI (XO (XI XH))))))) :: ((Zpos (XI (XI
+    (XI (XO (XO (XI XH))))))) :: ((Zpos (XI (XI (XI (XO (XO (XI
+    XH))))))) :: ((Zpos (XO (XO (XI (XI (XO (XI XH))))))) :: ((Zpos (XI (XO
+    (XI (XO (XO (XI XH))))))) :: ((Zpos (XI (XO (XI (XI (XO
+    XH)))))) :: ((Zpos (XI (XO (XO (XO (XO (XI XH))))))) :: ((Zpos (XO (XO
+    (XI (XI (XO (XI XH))))))) :: ((Zpos (XO (XO (XI (XI (XO (XI
+    XH))))))) :: [])))))))))), (((Zpos (XO (XO (XI (XO (XI (XI
+    XH))))))) :: ((Zpos (XI (XI (XI (XI (XO (XI XH))))))) :: ((Zpos (XI (XI
+    (XI (XO (XO (XI XH))))))) :: ((Zpos (XI (XI (XI (XO (XO (XI
+    XH))))))) :: ((Zpos (XO (XO (XI (XI (XO (XI XH))))))) :: ((Zpos (XI (XO
+    (XI (XO (XO (XI XH))))))) :: ((Zpos (XI (XO (XI (XI (XO
+    XH)))))) :: ((Zpos (XI (XO (XO (XO (XO (XI XH))))))) :: ((Zpos (XO (XO
+    (XI (XI (XO (XI XH))))))) :: ((Zpos (XO (XO (XI (XI (XO (XI
+    XH))))))) :: [])))))))))) :: [])) :: ((((Zpos (XO (XO (XI (XO (XI (XI
+    XH))))))) :: ((Zpos (XI (XI (XI (XI (XO (XI XH))))))) :: ((Zpos (XI (XI
+    (XI (XO (XO (XI XH))))))) :: ((Zpos (XI (XI (XI (XO (XO (XI
+    XH))))))) :: ((Zpos (XO (XO (XI (XI (XO (XI XH))))))) :: ((Zpos (XI (XO
+    (XI (XO (XO (XI XH))))))) :: ((Zpos (XI (XO (XI (XI (XO
+    XH)))))) :: ((Zpos (XI (XI (XO (XO (XI (XI XH))))))) :: ((Zpos (XI (XO
+    (XI (XO (XO (XI XH))))))) :: ((Zpos (XI (XO (XO (XO (XO (XI
+    XH))))))) :: ((Zpos (XO (XI (XO (XO (XI (XI XH))))))) :: ((Zpos (XI (XI
+    (XO (XO (XO (XI XH))))))) :: ((Zpos (XO (XO (XO (XI (XO (XI
+    XH))))))) :: []))))))))))))), (((Zpos (XO (XO (XI (XO (XI (XI
+    XH))))))) :: ((Zpos (XI (XI (XI (XI (XO (XI XH))))))) :: ((Zpos (XI (XI
+    (XI (XO (XO (XI XH))))))) :: ((Zpos (XI (XI (XI (XO (XO (XI
+    XH))))))) :: ((Zpos (XO (XO (XI (XI (XO (XI XH))))))) :: ((Zpos (XI (XO
+    (XI (XO (XO (XI XH))))))) :: ((Zpos (XI (XO (XI (XI (XO
+    XH)))))) :: ((Zpos (XI (XI (XO (XO (XI (XI XH))))))) :: ((Zpos (XI (XO
+    (XI (XO (XO (XI XH))))))) :: ((Zpos (XI (XO (XO (XO (XO (XI
+    XH))))))) :: ((Zpos (XO (XI (XO (XO (XI (XI XH))))))) :: ((Zpos (XI (XI
+    (XO (XO (XO (XI XH))))))) :: ((Zpos (XO (XO (XO (XI (XO (XI
+    XH))))))) :: []))))))))))))) :: [])) :: ((((Zpos (XO (XO (XI (XO (XI (XI
+    XH))))))) :: ((Zpos (XI (XI (XI (XI (XO (XI XH))))))) :: ((Zpos (XI (XI
+    (XI (XO (XO (XI XH))))))) :: ((Zpos (XI (XI (XI (XO (XO (XI
+    XH))))))) :: ((Zpos (XO (XO (XI (XI (XO (XI XH))))))) :: ((Zpos (XI (XO
+    (XI (XO (XO (XI XH))))))) :: ((Zpos (XI (XO (XI (XI (XO
+    XH)))))) :: ((Zpos (XO (XO (XI (XO (XI (XI XH))))))) :: ((Zpos (XO (XI
+    (XO (XO (XI (XI XH))))))) :: ((Zpos (XI (XO (XO (XO (XO (XI
+    XH))))))) :: ((Zpos (XI (XI (XO (XO (XO (XI XH))))))) :: ((Zpos (XI (XI
+    (XO (XI (XO (XI XH))))))) :: [])))))))))))), (((Zpos (XO (XO (XI (XO (XI
+    (XI XH))))))) :: ((Zpos (XI (XI (XI (XI (XO (XI XH))))))) :: ((Zpos (XI
+    (XI (XI (XO (XO (XI XH))))))) :: ((Zpos (XI (XI (XI (XO (XO (XI
+    XH))))))) :: ((Zpos (XO (XO (XI (XI (XO (XI XH))))))) :: ((Zpos (XI (XO
+    (XI (XO (XO (XI XH))))))) :: ((Zpos (XI (XO (XI (XI (XO
+    XH)))))) :: ((Zpos (XO (XO (XI (XO (XI (XI XH))))))) :: ((Zpos (XO (XI
+    (XO (XO (XI (XI XH))))))) :: ((Zpos (XI (XO (XO (XO (XO (XI
+    XH))))))) :: ((Zpos (XI (XI (XO (XO (XO (XI XH))))))) :: ((Zpos (XI (XI
+    (XO (XI (XO (XI XH))))))) :: [])))))))))))) :: [])) :: ((((Zpos (XO (XO
+    (XI (XO (XI (XI XH))))))) :: ((Zpos (XI (XI (XI (XI (XO (XI
+    XH))))))) :: ((Zpos (XI (XI (XI (XO (XO (XI XH))))))) :: ((Zpos (XI (XI
+    (XI (XO (XO (XI XH))))))) :: ((Zpos (XO (XO (XI (XI (XO (XI
+    XH))))))) :: ((Zpos (XI (XO (XI (XO (XO (XI XH))))))) :: ((Zpos (XI (XO
+    (XI (XI (XO XH)))))) :: ((Zpos (XO (XO (XI (XO (XI (XI
+    XH))))))) :: ((Zpos (XO (XI (XO (XO (XI (XI XH))))))) :: ((Zpos (XI (XO
+    (XO (XO (XO (XI XH))))))) :: ((Zpos (XI (XI (XO (XO (XO (XI
+    XH))))))) :: ((Zpos (XI (XI (XO (XI (XO (XI XH))))))) :: ((Zpos (XI (XO
+    (XI (XI (XO XH)))))) :: ((Zpos (XI (XI (XO (XO (XO (XI
+    XH))))))) :: ((Zpos (XI (XO (XI (XO (XI (XI XH))))))) :: ((Zpos (XO (XI
+    (XO (XO (XI (XI XH))))))) :: ((Zpos (XO (XI (XO (XO (XI (XI
+    XH))))))) :: ((Zpos (XI (XO (XI (XO (XO (XI XH))))))) :: ((Zpos (XO (XI
+    (XI (XI (XO (XI XH))))))) :: ((Zpos (XO (XO (XI (XO (XI (XI
+    XH))))))) :: [])))))))))))))))))))), (((Zpos (XO (XO (XI (XO (XI (XI
+    XH))))))) :: ((Zpos (XI (XI (XI (XI (XO (XI XH))))))) :: ((Zpos (XI (XI
+    (XI (XO (XO (XI XH))))))) :: ((Zpos (XI (XI (XI (XO (XO (XI
+    XH))))))) :: ((Zpos (XO (XO (XI (XI (XO (XI XH))))))) :: ((Zpos (XI (XO
+    (XI (XO (XO (XI XH))))))) :: ((Zpos (XI (XO (XI (XI (XO
+    XH)))))) :: ((Zpos (XO (XO (XI (XO (XI (XI XH))))))) :: ((Zpos (XO (XI
+    (XO (XO (XI (XI XH))))))) :: ((Zpos (XI (XO (XO (XO (XO (XI
+    XH))))))) :: ((Zpos (XI (XI (XO (XO (XO (XI XH))))))) :: ((Zpos (XI (XI
+    (XO (XI (XO (XI XH))))))) :: ((Zpos (XI (XO (XI (XI (XO
+    XH)))))) :: ((Zpos (XI (XI (XO (XO (XO (XI XH))))))) :: ((Zpos (XI (XO
+    (XI (XO (XI (XI XH))))))) :: ((Zpos (XO (XI (XO (XO (XI (XI
+    XH))))))) :: ((Zpos (XO (XI (XO (XO (XI (XI XH))))))) :: ((Zpos (XI (XO
+    (XI (XO (XO (XI XH))))))) :: ((Zpos (XO (XI (XI (XI (XO (XI
+    XH))))))) :: ((Zpos (XO (XO (XI (XO (XI (XI
+    XH))))))) :: [])))))))))))))))))))) :: [])) :: ((((Zpos (XO (XO (XI (XO
+    (XI (XI XH))))))) :: ((Zpos (XI (XI (XI (XI (XO (XI XH))))))) :: ((Zpos
+    (XI (XI (XI (XO (XO (XI XH))))))) :: ((Zpos (XI (XI (XI (XO (XO (XI
+    XH))))))) :: ((Zpos (XO (XO (XI (XI (XO (XI XH))))))) :: ((Zpos (XI (XO
+    (XI (XO (XO (XI XH))))))) :: ((Zpos (XI (XO (XI (XI (XO
+    XH)))))) :: ((Zpos (XI (XO (XO (XI (XO (XI XH))))))) :: ((Zpos (XO (XI
+    (XI (XI (XO (XI XH))))))) :: ((Zpos (XO (XO (XO (XO (XI (XI
+    XH))))))) :: ((Zpos (XI (XO (XI (XO (XI (XI XH))))))) :: ((Zpos (XO (XO
+    (XI (XO (XI (XI XH))))))) :: [])))))))))))), (((Zpos (XO (XO (XI (XO (XI
+    (XI XH))))))) :: ((Zpos (XI (XI (XI (XI (XO (XI XH))))))) :: ((Zpos (XI
+    (XI (XI (XO (XO (XI XH))))))) :: ((Zpos (XI (XI (XI (XO (XO (XI
+    XH))))))) :: ((Zpos (XO (XO (XI (XI (XO (XI XH))))))) :: ((Zpos (XI (XO
+    (XI (XO (XO (XI XH))))))) :: ((Zpos (XI (XO (XI (XI (XO
+    XH)))))) :: ((Zpos (XI (XO (XO (XI (XO (XI XH))))))) :: ((Zpos (XO (XI
+    (XI (XI (XO (XI XH))))))) :: ((Zpos (XO (XO (XO (XO (XI (XI
+    XH))))))) :: ((Zpos (XI (XO (XI (XO (XI (XI XH))))))) :: ((Zpos (XO (XO
+    (XI (XO (XI (XI XH))))))) :: [])))))))))))) :: [])) :: ((((Zpos (XO (XO
+    (XO (XI (XO (XI XH))))))) :: ((Zpos (XI (XO (XO (XI (XO (XI
+    XH))))))) :: ((Zpos (XO (XO (XI (XO (XO (XI XH))))))) :: ((Zpos (XI (XO
+    (XI (XO (XO (XI XH))))))) :: ((Zpos (XI (XO (XI (XI (XO
+    XH)))))) :: ((Zpos (XI (XO (XO (XI (XO (XI XH))))))) :: ((Zpos (XO (XI
+    (XI (XI (XO (XI XH))))))) :: ((Zpos (XO (XO (XO (XO (XI (XI
+    XH))))))) :: ((Zpos (XI (XO (XI (XO (XI (XI XH))))))) :: ((Zpos (XO (XO
+    (XI (XO (XI (XI XH))))))) :: [])))))))))), (((Zpos (XO (XO (XO (XI (XO
+    (XI XH))))))) :: ((Zpos (XI (XO (XO (XI (XO (XI XH))))))) :: ((Zpos (XO
+    (XO (XI (XO (XO (XI XH))))))) :: ((Zpos (XI (XO (XI (XO (XO (XI
+    XH))))))) :: ((Zpos (XI (XO (XI (XI (XO XH)))))) :: ((Zpos (XI (XO (XO
+    (XI (XO (XI XH))))))) :: ((Zpos (XO (XI (XI (XI (XO (XI
+    XH))))))) :: ((Zpos (XO (XO (XO (XO (XI (XI XH))))))) :: ((Zpos (XI (XO
+    (XI (XO (XI (XI XH))))))) :: ((Zpos (XO (XO (XI (XO (XI (XI
+    XH))))))) :: [])))))))))) :: [])) :: ((((Zpos (XI (XI (XO (XO (XI (XI
+    XH))))))) :: ((Zpos (XO (XO (XO (XI (XO (XI XH))))))) :: ((Zpos (XI (XI
+    (XI (XI (XO (XI XH))))))) :: ((Zpos (XI (XI (XI (XO (XI (XI
+    XH))))))) :: ((Zpos (XI (XO (XI (XI (XO XH)))))) :: ((Zpos (XI (XO (XO
+    (XI (XO (XI XH))))))) :: ((Zpos (XO (XI (XI (XI (XO (XI
+    XH))))))) :: ((Zpos (XO (XO (XO (XO (XI (XI XH))))))) :: ((Zpos (XI (XO
+    (XI (XO (XI (XI XH))))))) :: ((Zpos (XO (XO (XI (XO (XI (XI
+    XH))))))) :: [])))))))))), (((Zpos (XI (XI (XO (XO (XI (XI
+    XH))))))) :: ((Zpos (XO (XO (XO (XI (XO (XI XH))))))) :: ((Zpos (XI (XI
+    (XI (XI (XO (XI XH))))))) :: ((Zpos (XI (XI (XI (XO (XI (XI
+    XH))))))) :: ((Zpos (XI (XO (XI (XI (XO XH)))))) :: ((Zpos (XI (XO (XO
+    (XI (XO (XI XH))))))) :: ((Zpos (XO (XI (XI (XI (XO (XI
+    XH))))))) :: ((Zpos (XO (XO (XO (XO (XI (XI XH))))))) :: ((Zpos (XI (XO
+    (XI (XO (XI (XI XH))))))) :: ((Zpos (XO (XO (XI (XO (XI (XI
+    XH))))))) :: [])))))))))) :: [])) :: ((((Zpos (XO (XO (XI (XO (XI (XI
+    XH))))))) :: ((Zpos (XI (XI (XI (XI (XO (XI XH))))))) :: ((Zpos (XI (XI
+    (XI (XO (XO (XI XH))))))) :: ((Zpos (XI (XI (XI (XO (XO (XI
+    XH))))))) :: ((Zpos (XO (XO (XI (XI (XO (XI XH))))))) :: ((Zpos (XI (XO
+    (XI (XO (XO (XI XH))))))) :: ((Zpos (XI (XO (XI (XI (XO
+    XH)))))) :: ((Zpos (XO (XO (XO (XI (XO (XI XH))))))) :: ((Zpos (XI (XO
+    (XI (XO (XO (XI XH))))))) :: ((Zpos (XI (XO (XO (XO (XO (XI
+    XH))))))) :: ((Zpos (XO (XO (XI (XO (XO (XI XH))))))) :: ((Zpos (XI (XO
+    (XI (XO (XO (XI XH))))))) :: ((Zpos (XO (XI (XO (XO (XI (XI
+    XH))))))) :: []))))))))))))), (((Zpos (XO (XO (XI (XO (XI (XI
+    XH))))))) :: ((Zpos (XI (XI (XI (XI (XO (XI XH))))))) :: ((Zpos (XI (XI
+    (XI (XO (XO (XI XH))))))) :: ((Zpos (XI (XI (XI (XO (XO (XI
+    XH))))))) :: ((Zpos (XO (XO (XI (XI (XO (XI XH))))))) :: ((Zpos (XI (XO
+    (XI (XO (XO (XI XH))))))) :: ((Zpos (XI (XO (XI (XI (XO
+    XH)))))) :: ((Zpos (XO (XO (XO (XI (XO (XI XH))))))) :: ((Zpos (XI (XO
+    (XI (XO (XO (XI XH))))))) :: ((Zpos (XI (XO (XO (XO (XO (XI
+    XH))))))) :: ((Zpos (XO (XO (XI (XO (XO (XI XH))))))) :: ((Zpos (XI (XO
+    (XI (XO (XO (XI XH))))))) :: ((Zpos (XO (XI (XO (XO (XI (XI
+    XH))))))) :: []))))))))))))) :: [])) :: ((((Zpos (XO (XO (XI (XO (XI (XI
+    XH))))))) :: ((Zpos (XI (XI (XI (XI (XO (XI XH))))))) :: ((Zpos (XI (XI
+    (XI (XO (XO (XI XH))))))) :: ((Zpos (XI (XI (XI (XO (XO (XI
+    XH))))))) :: ((Zpos (XO (XO (XI (XI (XO (XI XH))))))) :: ((Zpos (XI (XO
+    (XI (XO (XO (XI XH))))))) :: ((Zpos (XI (XO (XI (XI (XO
+    XH)))))) :: ((Zpos (XI (XI (XI (XO (XI (XI XH))))))) :: ((Zpos (XO (XI
+    (XO (XO (XI (XI XH))))))) :: ((Zpos (XI (XO (XO (XO (XO (XI
+    XH))))))) :: ((Zpos (XO (XO (XO (XO (XI (XI XH))))))) :: []))))))))))),
+    (((Zpos (XO (XO (XI (XO (XI (XI XH))))))) :: ((Zpos (XI (XI (XI (XI (XO
+    (XI XH))))))) :: ((Zpos (XI (XI (XI (XO (XO (XI XH))))))) :: ((Zpos (XI
+    (XI (XI (XO (XO (XI XH))))))) :: ((Zpos (XO (XO (XI (XI (XO (XI
+    XH))))))) :: ((Zpos (XI (XO (XI (XO (XO (XI XH))))))) :: ((Zpos (XI (XO
+    (XI (XI (XO XH)))))) :: ((Zpos (XI (XI (XI (XO (XI (XI
+    XH))))))) :: ((Zpos (XO (XI (XO (XO (XI (XI XH))))))) :: ((Zpos (XI (XO
+    (XO (XO (XO (XI XH))))))) :: ((Zpos (XO (XO (XO (XO (XI (XI
+    XH))))))) :: []))))))))))) :: [])) :: ((((Zpos (XO (XO (XI (XO (XI (XI
+    XH))))))) :: ((Zpos (XI (XI (XI (XI (XO (XI XH))))))) :: ((Zpos (XI (XI
+    (XI (XO (XO (XI XH))))))) :: ((Zpos (XI (XI (XI (XO (XO (XI
+    XH))))))) :: ((Zpos (XO (XO (XI (XI (XO (XI XH))))))) :: ((Zpos (XI (XO
+    (XI (XO (XO (XI XH))))))) :: ((Zpos (XI (XO (XI (XI (XO
+    XH)))))) :: ((Zpos (XI (XO (XI (XI (XO (XI XH))))))) :: ((Zpos (XI (XO
+    (XI (XO (XI (XI XH))))))) :: ((Zpos (XO (XO (XI (XI (XO (XI
+    XH))))))) :: ((Zpos (XO (XO (XI (XO (XI (XI XH))))))) :: ((Zpos (XI (XO
+    (XO (XI (XO (XI XH))))))) :: ((Zpos (XI (XO (XI (XI (XO
+    XH)))))) :: ((Zpos (XO (XO (XI (XI (XO (XI XH))))))) :: ((Zpos (XI (XO
+    (XO (XI (XO (XI XH))))))) :: ((Zpos (XO (XI (XI (XI (XO (XI
+    XH))))))) :: ((Zpos (XI (XO (XI (XO (XO (XI
+    XH))))))) :: []))))))))))))))))), (((Zpos (XO (XO (XI (XO (XI (XI
+    XH))))))) :: ((Zpos (XI (XI (XI (XI (XO (XI XH))))))) :: ((Zpos (XI (XI
+    (XI (XO (XO (XI XH))))))) :: ((Zpos (XI (XI (XI (XO (XO (XI
+    XH))))))) :: ((Zpos (XO (XO (XI (XI (XO (XI XH))))))) :: ((Zpos (XI (XO
+    (XI (XO (XO (XI XH))))))) :: ((Zpos (XI (XO (XI (XI (XO
+    XH)))))) :: ((Zpos (XI (XO (XI (XI (XO (XI XH))))))) :: ((Zpos (XI (XO
+    (XI (XO (XI (XI XH))))))) :: ((Zpos (XO (XO (XI (XI (XO (XI
+    XH))))))) :: ((Zpos (XO (XO (XI (XO (XI (XI XH))))))) :: ((Zpos (XI (XO
+    (XO (XI (XO (XI XH))))))) :: ((Zpos (XI (XO (XI (XI (XO
+    XH)))))) :: ((Zpos (XO (XO (XI (XI (XO (XI XH))))))) :: ((Zpos (XI (XO
+    (XO (XI (XO (XI XH))))))) :: ((Zpos (XO (XI (XI (XI (XO (XI
+    XH))))))) :: ((Zpos (XI (XO (XI (XO (XO (XI
+    XH))))))) :: []))))))))))))))))) :: [])) :: ((((Zpos (XO (XO (XI (XO (XI
+    (XI XH))))))) :: ((Zpos (XI (XI (XI (XI (XO (XI XH))))))) :: ((Zpos (XI
+    (XI (XI (XO (XO (XI XH))))))) :: ((Zpos (XI (XI (XI (XO (XO (XI
+    XH))))))) :: ((Zpos (XO (XO (XI (XI (XO (XI XH))))))) :: ((Zpos (XI (XO
+    (XI (XO (XO (XI XH))))))) :: ((Zpos (XI (XO (XI (XI (XO
+    XH)))))) :: ((Zpos (XO (XO (XO (XI (XO (XI XH))))))) :: ((Zpos (XI (XI
+    (XO (XO (XI (XI XH))))))) :: ((Zpos (XI (XI (XO (XO (XO (XI
+    XH))))))) :: ((Zpos (XO (XI (XO (XO (XI (XI XH))))))) :: ((Zpos (XI (XI
+    (XI (XI (XO (XI XH))))))) :: ((Zpos (XO (XO (XI (XI (XO (XI
+    XH))))))) :: ((Zpos (XO (XO (XI (XI (XO (XI
+    XH))))))) :: [])))))))))))))), (((Zpos (XO (XO (XI (XO (XI (XI
+    XH))))))) :: ((Zpos (XI (XI (XI (XI (XO (XI XH))))))) :: ((Zpos (XI (XI
+    (XI (XO (XO (XI XH))))))) :: ((Zpos (XI (XI (XI (XO (XO (XI
+    XH))))))) :: ((Zpos (XO (XO (XI (XI (XO (XI XH))))))) :: ((Zpos (XI (XO
+    (XI (XO (XO (XI XH))))))) :: ((Zpos (XI (XO (XI (XI (XO
+    XH)))))) :: ((Zpos (XO (XO (XO (XI (XO (XI XH))))))) :: ((Zpos (XI (XI
+    (XO (XO (XI (XI XH))))))) :: ((Zpos (XI (XI (XO (XO (XO (XI
+    XH))))))) :: ((Zpos (XO (XI (XO (XO (XI (XI XH))))))) :: ((Zpos (XI (XI
+    (XI (XI (XO (XI XH))))))) :: ((Zpos (XO (XO (XI (XI (XO (XI
+    XH))))))) :: ((Zpos (XO (XO (XI (XI (XO (XI
+    XH))))))) :: [])))))))))))))) :: [])) :: ((((Zpos (XI (XI (XO (XO (XI (XI
+    XH))))))) :: ((Zpos (XO (XO (XO (XI (XO (XI XH))))))) :: ((Zpos (XI (XI
+    (XI (XI (XO (XI XH))))))) :: ((Zpos (XI (XI (XI (XO (XI (XI
+    XH))))))) :: ((Zpos (XI (XO (XI (XI (XO XH)))))) :: ((Zpos (XO (XO (XO
+    (XI (XO (XI XH))))))) :: ((Zpos (XI (XO (XI (XO (XO (XI
+    XH))))))) :: ((Zpos (XI (XO (XO (XO (XO (XI XH))))))) :: ((Zpos (XO (XO
+    (XI (XO (XO (XI XH))))))) :: ((Zpos (XI (XO (XI (XO (XO (XI
+    XH))))))) :: ((Zpos (XO (XI (XO (XO (XI (XI XH))))))) :: []))))))))))),
+    (((Zpos (XI (XI (XO (XO (XI (XI XH))))))) :: ((Zpos (XO (XO (XO (XI (XO
+    (XI XH))))))) :: ((Zpos (XI (XI (XI (XI (XO (XI XH))))))) :: ((Zpos (XI
+    (XI (XI (XO (XI (XI XH))))))) :: ((Zpos (XI (XO (XI (XI (XO
+    XH)))))) :: ((Zpos (XO (XO (XO (XI (XO (XI XH))))))) :: ((Zpos (XI (XO
+    (XI (XO (XO (XI XH))))))) :: ((Zpos (XI (XO (XO (XO (XO (XI
+    XH))))))) :: ((Zpos (XO (XO (XI (XO (XO (XI XH))))))) :: ((Zpos (XI (XO
+    (XI (XO (XO (XI XH))))))) :: ((Zpos (XO (XI (XO (XO (XI (XI
+    XH))))))) :: []))))))))))) :: [])) :: ((((Zpos (XO (XO (XO (XI (XO (XI
+    XH))))))) :: ((Zpos (XI (XO (XO (XI (XO (XI XH))))))) :: ((Zpos (XO (XO
+    (XI (XO (XO (XI XH))))))) :: ((Zpos (XI (XO (XI (XO (XO (XI
+    XH))))))) :: ((Zpos (XI (XO (XI (XI (XO XH)))))) :: ((Zpos (XO (XO (XO
+    (XI (XO (XI XH))))))) :: ((Zpos (XI (XO (XI (XO (XO (XI
+    XH))))))) :: ((Zpos (XI (XO (XO (XO (XO (XI XH))))))) :: ((Zpos (XO (XO
+    (XI (XO (XO (XI XH))))))) :: ((Zpos (XI (XO (XI (XO (XO (XI
+    XH))))))) :: ((Zpos (XO (XI (XO (XO (XI (XI XH))))))) :: []))))))))))),
+    (((Zpos (XO (XO (XO (XI (XO (XI XH))))))) :: ((Zpos (XI (XO (XO (XI (XO
+    (XI XH))))))) :: ((Zpos (XO (XO (XI (XO (XO (XI XH))))))) :: ((Zpos (XI
+    (XO (XI (XO (XO (XI XH))))))) :: ((Zpos (XI (XO (XI (XI (XO
+    XH)))))) :: ((Zpos (XO (XO (XO (XI (XO (XI XH))))))) :: ((Zpos (XI (XO
+    (XI (XO (XO (XI XH))))))) :: ((Zpos (XI (XO (XO (XO (XO (XI
+    XH))))))) :: ((Zpos (XO (XO (XI (XO (XO (XI XH))))))) :: ((Zpos (XI (XO
+    (XI (XO (XO (XI XH))))))) :: ((Zpos (XO (XI (XO (XO (XI (XI
+    XH))))))) :: []))))))))))) :: [])) :: ((((Zpos (XO (XO (XI (XO (XI (XI
+    XH))))))) :: ((Zpos (XO (XI (XO (XO (XI (XI XH))))))) :: ((Zpos (XI (XO
+    (XO (XO (XO (XI XH))))))) :: ((Zpos (XI (XI (XO (XO (XO (XI
+    XH))))))) :: ((Zpos (XI (XI (XO (XI (XO (XI XH))))))) :: []))))), (((Zpos
+    (XO (XO (XI (XO (XI (XI XH))))))) :: ((Zpos (XO (XI (XO (XO (XI (XI
+    XH))))))) :: ((Zpos (XI (XO (XO (XO (XO (XI XH))))))) :: ((Zpos (XI (XI
+    (XO (XO (XO (XI XH))))))) :: ((Zpos (XI (XI (XO (XI (XO (XI
+    XH))))))) :: ((Zpos (XI (XO (XI (XI (XO XH)))))) :: ((Zpos (XI (XI (XO
+    (XO (XO (XI XH))))))) :: ((Zpos (XI (XO (XI (XO (XI (XI
+    XH))))))) :: ((Zpos (XO (XI (XO (XO (XI (XI XH))))))) :: ((Zpos (XO (XI
+    (XO (XO (XI (XI XH))))))) :: ((Zpos (XI (XO (XI (XO (XO (XI
+    XH))))))) :: ((Zpos (XO (XI (XI (XI (XO (XI XH))))))) :: ((Zpos (XO (XO
+    (XI (XO (XI (XI XH))))))) :: []))))))))))))) :: [])) :: ((((Zpos (XO (XO
+    (XI (XO (XI (XI XH))))))) :: ((Zpos (XO (XI (XO (XO (XI (XI
+    XH))))))) :: ((Zpos (XI (XO (XO (XO (XO (XI XH))))))) :: ((Zpos (XI (XI
+    (XO (XO (XO (XI XH))))))) :: ((Zpos (XI (XI (XO (XI (XO (XI
+    XH))))))) :: ((Zpos (XI (XO (XI (XI (XO XH)))))) :: ((Zpos (XI (XI (XO
+    (XO (XO (XI XH))))))) :: ((Zpos (XI (XO (XI (XO (XI (XI
+    XH))))))) :: ((Zpos (XO (XI (XO (XO (XI (XI XH))))))) :: ((Zpos (XO (XI
+    (XO (XO (XI (XI XH))))))) :: ((Zpos (XI (XO (XI (XO (XO (XI
+    XH))))))) :: ((Zpos (XO (XI (XI (XI (XO (XI XH))))))) :: ((Zpos (XO (XO
+    (XI (XO (XI (XI XH))))))) :: []))))))))))))), (((Zpos (XO (XO (XI (XO (XI
+    (XI XH))))))) :: ((Zpos (XO (XI (XO (XO (XI (XI XH))))))) :: ((Zpos (XI
+    (XO (XO (XO (XO (XI XH))))))) :: ((Zpos (XI (XI (XO (XO (XO (XI
+    XH))))))) :: ((Zpos (XI (XI (XO (XI (XO (XI XH))))))) :: ((Zpos (XI (XO
+    (XI (XI (XO XH)))))) :: ((Zpos (XI (XI (XO (XO (XO (XI
+    XH))))))) :: ((Zpos (XI (XO (XI (XO (XI (XI XH))))))) :: ((Zpos (XO (XI
+    (XO (XO (XI (XI XH))))))) :: ((Zpos (XO (XI (XO (XO (XI (XI
+    XH))))))) :: ((Zpos (XI (XO (XI (XO (XO (XI XH))))))) :: ((Zpos (XO (XI
+    (XI (XI (XO (XI XH))))))) :: ((Zpos (XO (XO (XI (XO (XI (XI
+    XH))))))) :: []))))))))))))) :: [])) :: ((((Zpos (XI (XO (XI (XO (XI (XI
+    XH))))))) :: ((Zpos (XO (XI (XI (XI (XO (XI XH))))))) :: ((Zpos (XO (XO
+    (XI (XO (XI (XI XH))))))) :: ((Zpos (XO (XI (XO (XO (XI (XI
+    XH))))))) :: ((Zpos (XI (XO (XO (XO (XO (XI XH))))))) :: ((Zpos (XI (XI
+    (XO (XO (XO (XI XH))))))) :: ((Zpos (XI (XI (XO (XI (XO (XI
+    XH))))))) :: ((Zpos (XI (XO (XI (XI (XO XH)))))) :: ((Zpos (XI (XI (XO
+    (XO (XO (XI XH))))))) :: ((Zpos (XI (XO (XI (XO (XI (XI
+    XH))))))) :: ((Zpos (XO (XI (XO (XO (XI (XI XH))))))) :: ((Zpos (XO (XI
+    (XO (XO (XI (XI XH))))))) :: ((Zpos (XI (XO (XI (XO (XO (XI
+    XH))))))) :: ((Zpos (XO (XI (XI (XI (XO (XI XH))))))) :: ((Zpos (XO (XO
+    (XI (XO (XI (XI XH))))))) :: []))))))))))))))), (((Zpos (XI (XO (XI (XO
+    (XI (XI XH))))))) :: ((Zpos (XO (XI (XI (XI (XO (XI XH))))))) :: ((Zpos
+    (XO (XO (XI (XO (XI (XI XH))))))) :: ((Zpos (XO (XI (XO (XO (XI (XI
+    XH))))))) :: ((Zpos (XI (XO (XO (XO (XO (XI XH))))))) :: ((Zpos (XI (XI
+    (XO (XO (XO (XI XH))))))) :: ((Zpos (XI (XI (XO (XI (XO (XI
+    XH))))))) :: ((Zpos (XI (XO (XI (XI (XO XH)))))) :: ((Zpos (XI (XI (XO
+    (XO (XO (XI XH))))))) :: ((Zpos (XI (XO (XI (XO (XI (XI
+    XH))))))) :: ((Zpos (XO (XI (XO (XO (XI (XI XH))))))) :: ((Zpos (XO (XI
+    (XO (XO (XI (XI XH))))))) :: ((Zpos (XI (XO (XI (XO (XO (XI
+    XH))))))) :: ((Zpos (XO (XI (XI (XI (XO (XI XH))))))) :: ((Zpos (XO (XO
+    (XI (XO (XI (XI XH))))))) :: []))))))))))))))) :: [])) :: ((((Zpos (XI
+    (XI (XO (XO (XI (XI XH))))))) :: ((Zpos (XI (XO (XI (XO (XO (XI
+    XH))))))) :: ((Zpos (XO (XO (XI (XI (XO (XI XH))))))) :: ((Zpos (XI (XO
+    (XI (XO (XO (XI XH))))))) :: ((Zpos (XI (XI (XO (XO (XO (XI
+    XH))))))) :: ((Zpos (XO (XO (XI (XO (XI (XI XH))))))) :: [])))))),
+    (((Zpos (XI (XI (XO (XO (XI (XI XH))))))) :: ((Zpos (XI (XO (XI (XO (XO
+    (XI XH))))))) :: ((Zpos (XO (XO (XI (XI (XO (XI XH))))))) :: ((Zpos (XI
+    (XO (XI (XO (XO (XI XH))))))) :: ((Zpos (XI (XI (XO (XO (XO (XI
+    XH))))))) :: ((Zpos (XO (XO (XI (XO (XI (XI
+    XH))))))) :: [])))))) :: [])) :: ((((Zpos (XI (XI (XO (XO (XI (XI
+    XH))))))) :: ((Zpos (XI (XO (XI (XO (XO (XI XH))))))) :: ((Zpos (XO (XO
+    (XI (XI (XO (XI XH))))))) :: ((Zpos (XI (XO (XI (XO (XO (XI
+    XH))))))) :: ((Zpos (XI (XI (XO (XO (XO (XI XH))))))) :: ((Zpos (XO (XO
+    (XI (XO (XI (XI XH))))))) :: ((Zpos (XI (XO (XI (XI (XO
+    XH)))))) :: ((Zpos (XI (XO (XO (XO (XO (XI XH))))))) :: ((Zpos (XO (XO
+    (XI (XI (XO (XI XH))))))) :: ((Zpos (XO (XO (XI (XI (XO (XI
+    XH))))))) :: [])))))))))), (((Zpos (XI (XI (XO (XO (XI (XI
+    XH))))))) :: ((Zpos (XI (XO (XI (XO (XO (XI XH))))))) :: ((Zpos (XO (XO
+    (XI (XI (XO (XI XH))))))) :: ((Zpos (XI (XO (XI (XO (XO (XI
+    XH))))))) :: ((Zpos (XI (XI (XO (XO (XO (XI XH))))))) :: ((Zpos (XO (XO
+    (XI (XO (XI (XI XH))))))) :: ((Zpos (XI (XO (XI (XI (XO
+    XH)))))) :: ((Zpos (XI (XO (XO (XO (XO (XI XH))))))) :: ((Zpos (XO (XO
+    (XI (XI (XO (XI XH))))))) :: ((Zpos (XO (XO (XI (XI (XO (XI
+    XH))))))) :: [])))))))))) :: [])) :: ((((Zpos (XO (XO (XI (XO (XO (XI
+    XH))))))) :: ((Zpos (XI (XO (XI (XO (XO (XI XH))))))) :: ((Zpos (XI (XI
+    (XO (XO (XI (XI XH))))))) :: ((Zpos (XI (XO (XI (XO (XO (XI
+    XH))))))) :: ((Zpos (XO (XO (XI (XI (XO (XI XH))))))) :: ((Zpos (XI (XO
+    (XI (XO (XO (XI XH))))))) :: ((Zpos (XI (XI (XO (XO (XO (XI
+    XH))))))) :: ((Zpos (XO (XO (XI (XO (XI (XI XH))))))) :: ((Zpos (XI (XO
+    (XI (XI (XO XH)))))) :: ((Zpos (XI (XO (XO (XO (XO (XI
+    XH))))))) :: ((Zpos (XO (XO (XI (XI (XO (XI XH))))))) :: ((Zpos (XO (XO
+    (XI (XI (XO (XI XH))))))) :: [])))))))))))), (((Zpos (XO (XO (XI (XO (XO
+    (XI XH))))))) :: ((Zpos (XI (XO (XI (XO (XO (XI XH))))))) :: ((Zpos (XI
+    (XI (XO (XO (XI (XI XH))))))) :: ((Zpos (XI (XO (XI (XO (XO (XI
+    XH))))))) :: ((Zpos (XO (XO (XI (XI (XO (XI XH))))))) :: ((Zpos (XI (XO
+    (XI (XO (XO (XI XH))))))) :: ((Zpos (XI (XI (XO (XO (XO (XI
+    XH))))))) :: ((Zpos (XO (XO (XI (XO (XI (XI XH))))))) :: ((Zpos (XI (XO
+    (XI (XI (XO XH)))))) :: ((Zpos (XI (XO (XO (XO (XO (XI
+    XH))))))) :: ((Zpos (XO (XO (XI (XI (XO (XI XH))))))) :: ((Zpos (XO (XO
+    (XI (XI (XO (XI XH))))))) :: [])))))))))))) :: [])) :: ((((Zpos (XI (XI
+    (XO (XO (XO (XI XH))))))) :: ((Zpos (XO (XO (XI (XI (XO (XI
+    XH))))))) :: ((Zpos (XI (XI (XI (XI (XO (XI XH))))))) :: ((Zpos (XI (XI
+    (XO (XO (XI (XI XH))))))) :: ((Zpos (XI (XO (XI (XO (XO (XI
+    XH))))))) :: []))))), (((Zpos (XI (XI (XO (XO (XO (XI XH))))))) :: ((Zpos
+    (XO (XO (XI (XI (XO (XI XH))))))) :: ((Zpos (XI (XI (XI (XI (XO (XI
+    XH))))))) :: ((Zpos (XI (XI (XO (XO (XI (XI XH))))))) :: ((Zpos (XI (XO
+    (XI (XO (XO (XI XH))))))) :: []))))) :: [])) :: ((((Zpos (XO (XO (XI (XO
+    (XI (XI XH))))))) :: ((Zpos (XI (XI (XI (XI (XO (XI XH))))))) :: ((Zpos
+    (XI (XI (XI (XO (XO (XI XH))))))) :: ((Zpos (XI (XI (XI (XO (XO (XI
+    XH))))))) :: ((Zpos (XO (XO (XI (XI (XO (XI XH))))))) :: ((Zpos (XI (XO
+    (XI (XO (XO (XI XH))))))) :: [])))))), (((Zpos (XO (XO (XI (XO (XI (XI
+    XH))))))) :: ((Zpos (XI (XI (XI (XI (XO (XI XH))))))) :: ((Zpos (XI (XI
+    (XI (XO (XO (XI XH))))))) :: ((Zpos (XI (XI (XI (XO (XO (XI
+    XH))))))) :: ((Zpos (XO (XO (XI (XI (XO (XI XH))))))) :: ((Zpos (XI (XO
+    (XI (XO (XO (XI XH))))))) :: [])))))) :: [])) :: ((((Zpos (XO (XO (XI (XO
+    (XO (XI XH))))))) :: ((Zpos (XI (XI (XI (XI (XO (XI XH))))))) :: ((Zpos
+    (XI (XI (XI (XO (XI (XI XH))))))) :: ((Zpos (XO (XI (XI (XI (XO (XI
+    XH))))))) :: [])))), (((Zpos (XO (XO (XI (XO (XO (XI XH))))))) :: ((Zpos
+    (XI (XI (XI (XI (XO (XI XH))))))) :: ((Zpos (XI (XI (XI (XO (XI (XI
+    XH))))))) :: ((Zpos (XO (XI (XI (XI (XO (XI
+    XH))))))) :: [])))) :: [])) :: ((((Zpos (XI (XO (XI (XO (XI (XI
+    XH))))))) :: ((Zpos (XO (XO (XO (XO (XI (XI XH))))))) :: [])), (((Zpos
+    (XI (XO (XI (XO (XI (XI XH))))))) :: ((Zpos (XO (XO (XO (XO (XI (XI
+    XH))))))) :: [])) :: [])) :: ((((Zpos (XO (XI (XI (XO (XO (XI
+    XH))))))) :: ((Zpos (XI (XO (XO (XI (XO (XI XH))))))) :: ((Zpos (XO (XI
+    (XO (XO (XI (XI XH))))))) :: ((Zpos (XI (XI (XO (XO (XI (XI
+    XH))))))) :: ((Zpos (XO (XO (XI (XO (XI (XI XH))))))) :: []))))), (((Zpos
+    (XO (XI (XI (XO (XO (XI XH))))))) :: ((Zpos (XI (XO (XO (XI (XO (XI
+    XH))))))) :: ((Zpos (XO (XI (XO (XO (XI (XI XH))))))) :: ((Zpos (XI (XI
+    (XO (XO (XI (XI XH))))))) :: ((Zpos (XO (XO (XI (XO (XI (XI
+    XH))))))) :: []))))) :: [])) :: ((((Zpos (XO (XO (XI (XO (XI (XI
+    XH))))))) :: ((Zpos (XI (XI (XI (XI (XO (XI XH))))))) :: ((Zpos (XO (XO
+    (XO (XO (XI (XI XH))))))) :: []))), (((Zpos (XO (XI (XI (XO (XO (XI
+    XH))))))) :: ((Zpos (XI (XO (XO (XI (XO (XI XH))))))) :: ((Zpos (XO (XI
+    (XO (XO (XI (XI XH))))))) :: ((Zpos (XI (XI (XO (XO (XI (XI
+    XH))))))) :: ((Zpos (XO (XO (XI (XO (XI (XI
+    XH))))))) :: []))))) :: [])) :: ((((Zpos (XO (XO (XI (XI (XO (XI
+    XH))))))) :: ((Zpos (XI (XO (XO (XO (XO (XI XH))))))) :: ((Zpos (XI (XI
+    (XO (XO (XI (XI XH))))))) :: ((Zpos (XO (XO (XI (XO (XI (XI
+    XH))))))) :: [])))), (((Zpos (XO (XO (XI (XI (XO (XI XH))))))) :: ((Zpos
+    (XI (XO (XO (XO (XO (XI XH))))))) :: ((Zpos (XI (XI (XO (XO (XI (XI
+    XH))))))) :: ((Zpos (XO (XO (XI (XO (XI (XI
+    XH))))))) :: [])))) :: [])) :: ((((Zpos (XO (XO (XO (XO (XI (XI
+    XH))))))) :: ((Zpos (XI (XO (XO (XO (XO (XI XH))))))) :: ((Zpos (XI (XI
+    (XI (XO (XO (XI XH))))))) :: ((Zpos (XI (XO (XI (XO (XO (XI
+    XH))))))) :: ((Zpos (XI (XO (XI (XI (XO XH)))))) :: ((Zpos (XI (XO (XI
+    (XO (XI (XI XH))))))) :: ((Zpos (XO (XO (XO (XO (XI (XI
+    XH))))))) :: []))))))), (((Zpos (XO (XO (XO (XO (XI (XI
+    XH))))))) :: ((Zpos (XI (XO (XO (XO (XO (XI XH))))))) :: ((Zpos (XI (XI
+    (XI (XO (XO (XI XH))))))) :: ((Zpos (XI (XO (XI (XO (XO (XI
+    XH))))))) :: ((Zpos (XI (XO (XI (XI (XO XH)))))) :: ((Zpos (XI (XO (XI
+    (XO (XI (XI XH))))))) :: ((Zpos (XO (XO (XO (XO (XI (XI
+    XH))))))) :: []))))))) :: [])) :: ((((Zpos (XO (XO (XO (XO (XI (XI
+    XH))))))) :: ((Zpos (XI (XO (XO (XO (XO (XI XH))))))) :: ((Zpos (XI (XI
+    (XI (XO (XO (XI XH))))))) :: ((Zpos (XI (XO (XI (XO (XO (XI
+    XH))))))) :: ((Zpos (XI (XO (XI (XI (XO XH)))))) :: ((Zpos (XO (XO (XI
+    (XO (XO (XI XH))))))) :: ((Zpos (XI (XI (XI (XI (XO (XI
+    XH))))))) :: ((Zpos (XI (XI (XI (XO (XI (XI XH))))))) :: ((Zpos (XO (XI
+    (XI (XI (XO (XI XH))))))) :: []))))))))), (((Zpos (XO (XO (XO (XO (XI (XI
+    XH))))))) :: ((Zpos (XI (XO (XO (XO (XO (XI XH))))))) :: ((Zpos (XI (XI
+    (XI (XO (XO (XI XH))))))) :: ((Zpos (XI (XO (XI (XO (XO (XI
+    XH))))))) :: ((Zpos (XI (XO (XI (XI (XO XH)))))) :: ((Zpos (XO (XO (XI
+    (XO (XO (XI XH))))))) :: ((Zpos (XI (XI (XI (XI (XO (XI
+    XH))))))) :: ((Zpos (XI (XI (XI (XO (XI (XI XH))))))) :: ((Zpos (XO (XI
+    (XI (XI (XO (XI XH))))))) :: []))))))))) :: [])) :: ((((Zpos (XO (XO (XO
+    (XI (XO (XI XH))))))) :: ((Zpos (XI (XO (XO (XO (XO (XI
+    XH))))))) :: ((Zpos (XO (XO (XI (XI (XO (XI XH))))))) :: ((Zpos (XO (XI
+    (XI (XO (XO (XI XH))))))) :: ((Zpos (XI (XO (XI (XI (XO
+    XH)))))) :: ((Zpos (XO (XO (XO (XO (XI (XI XH))))))) :: ((Zpos (XI (XO
+    (XO (XO (XO (XI XH))))))) :: ((Zpos (XI (XI (XI (XO (XO (XI
+    XH))))))) :: ((Zpos (XI (XO (XI (XO (XO (XI XH))))))) :: ((Zpos (XI (XO
+    (XI (XI (XO XH)))))) :: ((Zpos (XI (XO (XI (XO (XI (XI
+    XH))))))) :: ((Zpos (XO (XO (XO (XO (XI (XI XH))))))) :: [])))))))))))),
+    (((Zpos (XO (XO (XO (XI (XO (XI XH))))))) :: ((Zpos (XI (XO (XO (XO (XO
+    (XI XH))))))) :: ((Zpos (XO (XO (XI (XI (XO (XI XH))))))) :: ((Zpos (XO
+    (XI (XI (XO (XO (XI XH))))))) :: ((Zpos (XI (XO (XI (XI (XO
+    XH)))))) :: ((Zpos (XO (XO (XO (XO (XI (XI XH))))))) :: ((Zpos (XI (XO
+    (XO (XO (XO (XI XH))))))) :: ((Zpos (XI (XI (XI (XO (XO (XI
+    XH))))))) :: ((Zpos (XI (XO (XI (XO (XO (XI XH))))))) :: ((Zpos (XI (XO
+    (XI (XI (XO XH)))))) :: ((Zpos (XI (XO (XI (XO (XI (XI
+    XH))))))) :: ((Zpos (XO (XO (XO (XO (XI (XI
+    XH))))))) :: [])))))))))))) :: [])) :: ((((Zpos (XO (XO (XO (XI (XO (XI
+    XH))))))) :: ((Zpos (XI (XO (XO (XO (XO (XI XH))))))) :: ((Zpos (XO (XO
+    (XI (XI (XO (XI XH))))))) :: ((Zpos (XO (XI (XI (XO (XO (XI
+    XH))))))) :: ((Zpos (XI (XO (XI (XI (XO XH)))))) :: ((Zpos (XO (XO (XO
+    (XO (XI (XI XH))))))) :: ((Zpos (XI (XO (XO (XO (XO (XI
+    XH))))))) :: ((Zpos (XI (XI (XI (XO (XO (XI XH))))))) :: ((Zpos (XI (XO
+    (XI (XO (XO (XI XH))))))) :: ((Zpos (XI (XO (XI (XI (XO
+    XH)))))) :: ((Zpos (XO (XO (XI (XO (XO (XI XH))))))) :: ((Zpos (XI (XI
+    (XI (XI (XO (XI XH))))))) :: ((Zpos (XI (XI (XI (XO (XI (XI
+    XH))))))) :: ((Zpos (XO (XI (XI (XI (XO (XI
+    XH))))))) :: [])))))))))))))), (((Zpos (XO (XO (XO (XI (XO (XI
+    XH))))))) :: ((Zpos (XI (XO (XO (XO (XO (XI XH))))))) :: ((Zpos (XO (XO
+    (XI (XI (XO (XI XH))))))) :: ((Zpos (XO (XI (XI (XO (XO (XI
+    XH))))))) :: ((Zpos (XI (XO (XI (XI (XO XH)))))) :: ((Zpos (XO (XO (XO
+    (XO (XI (XI XH))))))) :: ((Zpos (XI (XO (XO (XO (XO (XI
+    XH))))))) :: ((Zpos (XI (XI (XI (XO (XO (XI XH))))))) :: ((Zpos (XI (XO
+    (XI (XO (XO (XI XH))))))) :: ((Zpos (XI (XO (XI (XI (XO
+    XH)))))) :: ((Zpos (XO (XO (XI (XO (XO (XI XH))))))) :: ((Zpos (XI (XI
+    (XI (XI (XO (XI XH))))))) :: ((Zpos (XI (XI (XI (XO (XI (XI
+    XH))))))) :: ((Zpos (XO (XI (XI (XI (XO (XI
+    XH))))))) :: [])))))))))))))) :: [])) :: ((((Zpos (XO (XO (XO (XO (XI (XI
+    XH))))))) :: ((Zpos (XO (XI (XO (XO (XI (XI XH))))))) :: ((Zpos (XI (XO
+    (XI (XO (XO (XI XH))))))) :: ((Zpos (XO (XI (XI (XO (XI (XI
+    XH))))))) :: ((Zpos (XI (XO (XI (XI (XO XH)))))) :: ((Zpos (XO (XO (XO
+    (XI (XO (XI XH))))))) :: ((Zpos (XI (XO (XO (XI (XO (XI
+    XH))))))) :: ((Zpos (XI (XI (XO (XO (XI (XI XH))))))) :: ((Zpos (XO (XO
+    (XI (XO (XI (XI XH))))))) :: ((Zpos (XI (XI (XI (XI (XO (XI
+    XH))))))) :: ((Zpos (XO (XI (XO (XO (XI (XI XH))))))) :: ((Zpos (XI (XO
+    (XO (XI (XI (XI XH))))))) :: [])))))))))))), (((Zpos (XO (XO (XO (XO (XI
+    (XI XH))))))) :: ((Zpos (XO (XI (XO (XO (XI (XI XH))))))) :: ((Zpos (XI
+    (XO (XI (XO (XO (XI XH))))))) :: ((Zpos (XO (XI (XI (XO (XI (XI
+    XH))))))) :: ((Zpos (XI (XO (XI (XI (XO XH)))))) :: ((Zpos (XO (XO (XO
+    (XI (XO (XI XH))))))) :: ((Zpos (XI (XO (XO (XI (XO (XI
+    XH))))))) :: ((Zpos (XI (XI (XO (XO (XI (XI XH))))))) :: ((Zpos (XO (XO
+    (XI (XO (XI (XI XH))))))) :: ((Zpos (XI (XI (XI (XI (XO (XI
+    XH))))))) :: ((Zpos (XO (XI (XO (XO (XI (XI XH))))))) :: ((Zpos (XI (XO
+    (XO (XI (XI (XI XH))))))) :: [])))))))))))) :: [])) :: ((((Zpos (XO (XO
+    (XO (XO (XI (XI XH))))))) :: ((Zpos (XO (XI (XO (XO (XI (XI
+    XH))))))) :: ((Zpos (XI (XO (XI (XO (XO (XI XH))))))) :: ((Zpos (XO (XI
+    (XI (XO (XI (XI XH))))))) :: ((Zpos (XI (XO (XO (XI (XO (XI
+    XH))))))) :: ((Zpos (XI (XI (XI (XI (XO (XI XH))))))) :: ((Zpos (XI (XO
+    (XI (XO (XI (XI XH))))))) :: ((Zpos (XI (XI (XO (XO (XI (XI
+    XH))))))) :: ((Zpos (XI (XO (XI (XI (XO XH)))))) :: ((Zpos (XO (XO (XO
+    (XI (XO (XI XH))))))) :: ((Zpos (XI (XO (XO (XI (XO (XI
+    XH))))))) :: ((Zpos (XI (XI (XO (XO (XI (XI XH))))))) :: ((Zpos (XO (XO
+    (XI (XO (XI (XI XH))))))) :: ((Zpos (XI (XI (XI (XI (XO (XI
+    XH))))))) :: ((Zpos (XO (XI (XO (XO (XI (XI XH))))))) :: ((Zpos (XI (XO
+    (XO (XI (XI (XI XH))))))) :: [])))))))))))))))), (((Zpos (XO (XO (XO (XO
+    (XI (XI XH))))))) :: ((Zpos (XO (XI (XO (XO (XI (XI XH))))))) :: ((Zpos
+    (XI (XO (XI (XO (XO (XI XH))))))) :: ((Zpos (XO (XI (XI (XO (XI (XI
+    XH))))))) :: ((Zpos (XI (XO (XI (XI (XO XH)))))) :: ((Zpos (XO (XO (XO
+    (XI (XO (XI XH))))))) :: ((Zpos (XI (XO (XO (XI (XO (XI
+    XH))))))) :: ((Zpos (XI (XI (XO (XO (XI (XI XH))))))) :: ((Zpos (XO (XO
+    (XI (XO (XI (XI XH))))))) :: ((Zpos (XI (XI (XI (XI (XO (XI
+    XH))))))) :: ((Zpos (XO (XI (XO (XO (XI (XI XH))))))) :: ((Zpos (XI (XO
+    (XO (XI (XI (XI XH))))))) :: [])))))))))))) :: [])) :: ((((Zpos (XO (XI
+    (XI (XI (XO (XI XH))))))) :: ((Zpos (XI (XO (XI (XO (XO (XI
+    XH))))))) :: ((Zpos (XO (XO (XO (XI (XI (XI XH))))))) :: ((Zpos (XO (XO
+    (XI (XO (XI (XI XH))))))) :: ((Zpos (XI (XO (XI (XI (XO
+    XH)))))) :: ((Zpos (XO (XO (XO (XI (XO (XI XH))))))) :: ((Zpos (XI (XO
+    (XO (XI (XO (XI XH))))))) :: ((Zpos (XI (XI (XO (XO (XI (XI
+    XH))))))) :: ((Zpos (XO (XO (XI (XO (XI (XI XH))))))) :: ((Zpos (XI (XI
+    (XI (XI (XO (XI XH))))))) :: ((Zpos (XO (XI (XO (XO (XI (XI
+    XH))))))) :: ((Zpos (XI (XO (XO (XI (XI (XI XH))))))) :: [])))))))))))),
+    (((Zpos (XO (XI (XI (XI (XO (XI XH))))))) :: ((Zpos (XI (XO (XI (XO (XO
+    (XI XH))))))) :: ((Zpos (XO (XO (XO (XI (XI (XI XH))))))) :: ((Zpos (XO
+    (XO (XI (XO (XI (XI XH))))))) :: ((Zpos (XI (XO (XI (XI (XO
+    XH)))))) :: ((Zpos (XO (XO (XO (XI (XO (XI XH))))))) :: ((Zpos (XI (XO
+    (XO (XI (XO (XI XH))))))) :: ((Zpos (XI (XI (XO (XO (XI (XI
+    XH))))))) :: ((Zpos (XO (XO (XI (XO (XI (XI XH))))))) :: ((Zpos (XI (XI
+    (XI (XI (XO (XI XH))))))) :: ((Zpos (XO (XI (XO (XO (XI (XI
+    XH))))))) :: ((Zpos (XI (XO (XO (XI (XI (XI
+    XH))))))) :: [])))))))))))) :: [])) :: ((((Zpos (XO (XO (XO (XO (XI (XI
+    XH))))))) :: ((Zpos (XO (XI (XO (XO (XI (XI XH))))))) :: ((Zpos (XI (XO
+    (XI (XO (XO (XI XH))))))) :: ((Zpos (XO (XI (XI (XO (XI (XI
+    XH))))))) :: ((Zpos (XI (XO (XI (XI (XO XH)))))) :: ((Zpos (XI (XI (XO
+    (XO (XI (XI XH))))))) :: ((Zpos (XI (XO (XI (XO (XO (XI
+    XH))))))) :: ((Zpos (XO (XO (XI (XI (XO (XI XH))))))) :: ((Zpos (XI (XO
+    (XI (XO (XO (XI XH))))))) :: ((Zpos (XI (XI (XO (XO (XO (XI
+    XH))))))) :: ((Zpos (XO (XO (XI (XO (XI (XI XH))))))) :: ((Zpos (XI (XO
+    (XI (XO (XO (XI XH))))))) :: ((Zpos (XO (XO (XI (XO (XO (XI
+    XH))))))) :: []))))))))))))), (((Zpos (XO (XO (XO (XO (XI (XI
+    XH))))))) :: ((Zpos (XO (XI (XO (XO (XI (XI XH))))))) :: ((Zpos (XI (XO
+    (XI (XO (XO (XI XH))))))) :: ((Zpos (XO (XI (XI (XO (XI (XI
+    XH))))))) :: ((Zpos (XI (XO (XI (XI (XO XH)))))) :: ((Zpos (XI (XI (XO
+    (XO (XI (XI XH))))))) :: ((Zpos (XI (XO (XI (XO (XO (XI
+    XH))))))) :: ((Zpos (XO (XO (XI (XI (XO (XI XH))))))) :: ((Zpos (XI (XO
+    (XI (XO (XO (XI XH))))))) :: ((Zpos (XI (XI (XO (XO (XO (XI
+    XH))))))) :: ((Zpos (XO (XO (XI (XO (XI (XI XH))))))) :: ((Zpos (XI (XO
+    (XI (XO (XO (XI XH))))))) :: ((Zpos (XO (XO (XI (XO (XO (XI
+    XH))))))) :: []))))))))))))) :: [])) :: ((((Zpos (XO (XI (XI (XI (XO (XI
+    XH))))))) :: ((Zpos (XI (XO (XI (XO (XO (XI XH))))))) :: ((Zpos (XO (XO
+    (XO (XI (XI (XI XH))))))) :: ((Zpos (XO (XO (XI (XO (XI (XI
+    XH))))))) :: ((Zpos (XI (XO (XI (XI (XO XH)))))) :: ((Zpos (XI (XI (XO
+    (XO (XI (XI XH))))))) :: ((Zpos (XI (XO (XI (XO (XO (XI
+    XH))))))) :: ((Zpos (XO (XO (XI (XI (XO (XI XH))))))) :: ((Zpos (XI (XO
+    (XI (XO (XO (XI XH))))))) :: ((Zpos (XI (XI (XO (XO (XO (XI
+    XH))))))) :: ((Zpos (XO (XO (XI (XO (XI (XI XH))))))) :: ((Zpos (XI (XO
+    (XI (XO (XO (XI XH))))))) :: ((Zpos (XO (XO (XI (XO (XO (XI
+    XH))))))) :: []))))))))))))), (((Zpos (XO (XI (XI (XI (XO (XI
+    XH))))))) :: ((Zpos (XI (XO (XI (XO (XO (XI XH))))))) :: ((Zpos (XO (XO
+    (XO (XI (XI (XI XH))))))) :: ((Zpos (XO (XO (XI (XO (XI (XI
+    XH))))))) :: ((Zpos (XI (XO (XI (XI (XO XH)))))) :: ((Zpos (XI (XI (XO
+    (XO (XI (XI XH))))))) :: ((Zpos (XI (XO (XI (XO (XO (XI
+    XH))))))) :: ((Zpos (XO (XO (XI (XI (XO (XI XH))))))) :: ((Zpos (XI (XO
+    (XI (XO (XO (XI XH))))))) :: ((Zpos (XI (XI (XO (XO (XO (XI
+    XH))))))) :: ((Zpos (XO (XO (XI (XO (XI (XI XH))))))) :: ((Zpos (XI (XO
+    (XI (XO (XO (XI XH))))))) :: ((Zpos (XO (XO (XI (XO (XO (XI
+    XH))))))) :: []))))))))))))) :: [])) :: ((((Zpos (XI (XI (XO (XO (XI (XI
+    XH))))))) :: ((Zpos (XO (XO (XO (XI (XO (XI XH))))))) :: ((Zpos (XI (XI
+    (XI (XI (XO (XI XH))))))) :: ((Zpos (XI (XI (XI (XO (XI (XI
+    XH))))))) :: ((Zpos (XI (XO (XI (XI (XO XH)))))) :: ((Zpos (XO (XO (XO
+    (XO (XI (XI XH))))))) :: ((Zpos (XO (XI (XO (XO (XI (XI
+    XH))))))) :: ((Zpos (XI (XO (XI (XO (XO (XI XH))))))) :: ((Zpos (XO (XI
+    (XI (XO (XI (XI XH))))))) :: ((Zpos (XI (XO (XO (XI (XO (XI
+    XH))))))) :: ((Zpos (XI (XO (XI (XO (XO (XI XH))))))) :: ((Zpos (XI (XI
+    (XI (XO (XI (XI XH))))))) :: [])))))))))))), (((Zpos (XI (XI (XO (XO (XI
+    (XI XH))))))) :: ((Zpos (XO (XO (XO (XI (XO (XI XH))))))) :: ((Zpos (XI
+    (XI (XI (XI (XO (XI XH))))))) :: ((Zpos (XI (XI (XI (XO (XI (XI
+    XH))))))) :: ((Zpos (XI (XO (XI (XI (XO XH)))))) :: ((Zpos (XO (XO (XO
+    (XO (XI (XI XH))))))) :: ((Zpos (XO (XI (XO (XO (XI (XI
+    XH))))))) :: ((Zpos (XI (XO (XI (XO (XO (XI XH))))))) :: ((Zpos (XO (XI
+    (XI (XO (XI (XI XH))))))) :: ((Zpos (XI (XO (XO (XI (XO (XI
+    XH))))))) :: ((Zpos (XI (XO (XI (XO (XO (XI XH))))))) :: ((Zpos (XI (XI
+    (XI (XO (XI (XI XH))))))) :: [])))))))))))) :: [])) :: ((((Zpos (XO (XO
+    (XO (XI (XO (XI XH))))))) :: ((Zpos (XI (XO (XO (XI (XO (XI
+    XH))))))) :: ((Zpos (XO (XO (XI (XO (XO (XI XH))))))) :: ((Zpos (XI (XO
+    (XI (XO (XO (XI XH))))))) :: ((Zpos (XI (XO (XI (XI (XO
+    XH)))))) :: ((Zpos (XO (XO (XO (XO (XI (XI XH))))))) :: ((Zpos (XO (XI
+    (XO (XO (XI (XI XH))))))) :: ((Zpos (XI (XO (XI (XO (XO (XI
+    XH))))))) :: ((Zpos (XO (XI (XI (XO (XI (XI XH))))))) :: ((Zpos (XI (XO
+    (XO (XI (XO (XI XH))))))) :: ((Zpos (XI (XO (XI (XO (XO (XI
+    XH))))))) :: ((Zpos (XI (XI (XI (XO (XI (XI XH))))))) :: [])))))))))))),
+    (((Zpos (XO (XO (XO (XI (XO (XI XH))))))) :: ((Zpos (XI (XO (XO (XI (XO
+    (XI XH))))))) :: ((Zpos (XO (XO (XI (XO (XO (XI XH))))))) :: ((Zpos (XI
+    (XO (XI (XO (XO (XI XH))))))) :: ((Zpos (XI (XO (XI (XI (XO
+    XH)))))) :: ((Zpos (XO (XO (XO (XO (XI (XI XH))))))) :: ((Zpos (XO (XI
+    (XO (XO (XI (XI XH))))))) :: ((Zpos (XI (XO (XI (XO (XO (XI
+    XH))))))) :: ((Zpos (XO (XI (XI (XO (XI (XI XH))))))) :: ((Zpos (XI (XO
+    (XO (XI (XO (XI XH))))))) :: ((Zpos (XI (XO (XI (XO (XO (XI
+    XH))))))) :: ((Zpos (XI (XI (XI (XO (XI (XI
+    XH))))))) :: [])))))))))))) :: [])) :: ((((Zpos (XO (XO (XI (XO (XI (XI
+    XH))))))) :: ((Zpos (XI (XI (XI (XI (XO (XI XH))))))) :: ((Zpos (XI (XI
+    (XI (XO (XO (XI XH))))))) :: ((Zpos (XI (XI (XI (XO (XO (XI
+    XH))))))) :: ((Zpos (XO (XO (XI (XI (XO (XI XH))))))) :: ((Zpos (XI (XO
+    (XI (XO (XO (XI XH))))))) :: ((Zpos (XI (XO (XI (XI (XO
+    XH)))))) :: ((Zpos (XO (XO (XO (XO (XI (XI XH))))))) :: ((Zpos (XO (XI
+    (XO (XO (XI (XI XH))))))) :: ((Zpos (XI (XO (XI (XO (XO (XI
+    XH))))))) :: ((Zpos (XO (XI (XI (XO (XI (XI XH))))))) :: ((Zpos (XI (XO
+    (XO (XI (XO (XI XH))))))) :: ((Zpos (XI (XO (XI (XO (XO (XI
+    XH))))))) :: ((Zpos (XI (XI (XI (XO (XI (XI
+    XH))))))) :: [])))))))))))))), (((Zpos (XO (XO (XI (XO (XI (XI
+    XH))))))) :: ((Zpos (XI (XI (XI (XI (XO (XI XH))))))) :: ((Zpos (XI (XI
+    (XI (XO (XO (XI XH))))))) :: ((Zpos (XI (XI (XI (XO (XO (XI
+    XH))))))) :: ((Zpos (XO (XO (XI (XI (XO (XI XH))))))) :: ((Zpos (XI (XO
+    (XI (XO (XO (XI XH))))))) :: ((Zpos (XI (XO (XI (XI (XO
+    XH)))))) :: ((Zpos (XO (XO (XO (XO (XI (XI XH))))))) :: ((Zpos (XO (XI
+    (XO (XO (XI (XI XH))))))) :: ((Zpos (XI (XO (XI (XO (XO (XI
+    XH))))))) :: ((Zpos (XO (XI (XI (XO (XI (XI XH))))))) :: ((Zpos (XI (XO
+    (XO (XI (XO (XI XH))))))) :: ((Zpos (XI (XO (XI (XO (XO (XI
+    XH))))))) :: ((Zpos (XI (XI (XI (XO (XI (XI
+    XH))))))) :: [])))))))))))))) :: [])) :: ((((Zpos (XO (XO (XI (XO (XI (XI
+    XH))))))) :: ((Zpos (XI (XI (XI (XI (XO (XI XH))))))) :: ((Zpos (XI (XI
+    (XI (XO (XO (XI XH))))))) :: ((Zpos (XI (XI (XI (XO (XO (XI
+    XH))))))) :: ((Zpos (XO (XO (XI (XI (XO (XI XH))))))) :: ((Zpos (XI (XO
+    (XI (XO (XO (XI XH))))))) :: ((Zpos (XI (XO (XI (XI (XO
+    XH)))))) :: ((Zpos (XO (XO (XO (XO (XI (XI XH))))))) :: ((Zpos (XO (XI
+    (XO (XO (XI (XI XH))))))) :: ((Zpos (XI (XO (XI (XO (XO (XI
+    XH))))))) :: ((Zpos (XO (XI (XI (XO (XI (XI XH))))))) :: ((Zpos (XI (XO
+    (XO (XI (XO (XI XH))))))) :: ((Zpos (XI (XO (XI (XO (XO (XI
+    XH))))))) :: ((Zpos (XI (XI (XI (XO (XI (XI XH))))))) :: ((Zpos (XI (XO
+    (XI (XI (XO XH)))))) :: ((Zpos (XI (XI (XI (XO (XI (XI
+    XH))))))) :: ((Zpos (XO (XI (XO (XO (XI (XI XH))))))) :: ((Zpos (XI (XO
+    (XO (XO (XO (XI XH))))))) :: ((Zpos (XO (XO (XO (XO (XI (XI
+    XH))))))) :: []))))))))))))))))))), (((Zpos (XO (XO (XI (XO (XI (XI
+    XH))))))) :: ((Zpos (XI (XI (XI (XI (XO (XI XH))))))) :: ((Zpos (XI (XI
+    (XI (XO (XO (XI XH))))))) :: ((Zpos (XI (XI (XI (XO (XO (XI
+    XH))))))) :: ((Zpos (XO (XO (XI (XI (XO (XI XH))))))) :: ((Zpos (XI (XO
+    (XI (XO (XO (XI XH))))))) :: ((Zpos (XI (XO (XI (XI (XO
+    XH)))))) :: ((Zpos (XO (XO (XO (XO (XI (XI XH))))))) :: ((Zpos (XO (XI
+    (XO (XO (XI (XI XH))))))) :: ((Zpos (XI (XO (XI (XO (XO (XI
+    XH))))))) :: ((Zpos (XO (XI (XI (XO (XI (XI XH))))))) :: ((Zpos (XI (XO
+    (XO (XI (XO (XI XH))))))) :: ((Zpos (XI (XO (XI (XO (XO (XI
+    XH))))))) :: ((Zpos (XI (XI (XI (XO (XI (XI XH))))))) :: ((Zpos (XI (XO
+    (XI (XI (XO XH)))))) :: ((Zpos (XI (XI (XI (XO (XI (XI
+    XH))))))) :: ((Zpos (XO (XI (XO (XO (XI (XI XH))))))) :: ((Zpos (XI (XO
+    (XO (XO (XO (XI XH))))))) :: ((Zpos (XO (XO (XO (XO (XI (XI
+    XH))))))) :: []))))))))))))))))))) :: [])) :: ((((Zpos (XO (XO (XI (XO
+    (XI (XI XH))))))) :: ((Zpos (XI (XI (XI (XI (XO (XI XH))))))) :: ((Zpos
+    (XI (XI (XI (XO (XO (XI XH))))))) :: ((Zpos (XI (XI (XI (XO (XO (XI
+    XH))))))) :: ((Zpos (XO (XO (XI (XI (XO (XI XH))))))) :: ((Zpos (XI (XO
+    (XI (XO (XO (XI XH))))))) :: ((Zpos (XI (XO (XI (XI (XO
+    XH)))))) :: ((Zpos (XI (XI (XO (XO (XI (XI XH))))))) :: ((Zpos (XI (XI
+    (XI (XI (XO (XI XH))))))) :: ((Zpos (XO (XI (XO (XO (XI (XI
+    XH))))))) :: ((Zpos (XO (XO (XI (XO (XI (XI XH))))))) :: []))))))))))),
+    (((Zpos (XO (XO (XI (XO (XI (XI XH))))))) :: ((Zpos (XI (XI (XI (XI (XO
+    (XI XH))))))) :: ((Zpos (XI (XI (XI (XO (XO (XI XH))))))) :: ((Zpos (XI
+    (XI (XI (XO (XO (XI XH))))))) :: ((Zpos (XO (XO (XI (XI (XO (XI
+    XH))))))) :: ((Zpos (XI (XO (XI (XO (XO (XI XH))))))) :: ((Zpos (XI (XO
+    (XI (XI (XO XH)))))) :: ((Zpos (XI (XI (XO (XO (XI (XI
+    XH))))))) :: ((Zpos (XI (XI (XI (XI (XO (XI XH))))))) :: ((Zpos (XO (XI
+    (XO (XO (XI (XI XH))))))) :: ((Zpos (XO (XO (XI (XO (XI (XI
+    XH))))))) :: []))))))))))) :: [])) :: ((((Zpos (XI (XI (XI (XI (XO (XI
+    XH))))))) :: ((Zpos (XO (XI (XI (XO (XO (XI XH))))))) :: ((Zpos (XO (XI
+    (XI (XO (XO (XI XH))))))) :: ((Zpos (XI (XI (XO (XO (XI (XI
+    XH))))))) :: ((Zpos (XI (XO (XI (XO (XO (XI XH))))))) :: ((Zpos (XO (XO
+    (XI (XO (XI (XI XH))))))) :: ((Zpos (XI (XO (XI (XI (XO
+    XH)))))) :: ((Zpos (XI (XO (XI (XO (XI (XI XH))))))) :: ((Zpos (XO (XO
+    (XO (XO (XI (XI XH))))))) :: []))))))))), (((Zpos (XI (XI (XI (XI (XO (XI
+    XH))))))) :: ((Zpos (XO (XI (XI (XO (XO (XI XH))))))) :: ((Zpos (XO (XI
+    (XI (XO (XO (XI XH))))))) :: ((Zpos (XI (XI (XO (XO (XI (XI
+    XH))))))) :: ((Zpos (XI (XO (XI (XO (XO (XI XH))))))) :: ((Zpos (XO (XO
+    (XI (XO (XI (XI XH))))))) :: ((Zpos (XI (XO (XI (XI (XO
+    XH)))))) :: ((Zpos (XI (XO (XI (XO (XI (XI XH))))))) :: ((Zpos (XO (XO
+    (XO (XO (XI (XI XH))))))) :: []))))))))) :: [])) :: ((((Zpos (XI (XI (XI
+    (XI (XO (XI XH))))))) :: ((Zpos (XO (XI (XI (XO (XO (XI
+    XH))))))) :: ((Zpos (XO (XI (XI (XO (XO (XI XH))))))) :: ((Zpos (XI (XI
+    (XO (XO (XI (XI XH))))))) :: ((Zpos (XI (XO (XI (XO (XO (XI
+    XH))))))) :: ((Zpos (XO (XO (XI (XO (XI (XI XH))))))) :: ((Zpos (XI (XO
+    (XI (XI (XO XH)))))) :: ((Zpos (XO (XO (XI (XO (XO (XI
+    XH))))))) :: ((Zpos (XI (XI (XI (XI (XO (XI XH))))))) :: ((Zpos (XI (XI
+    (XI (XO (XI (XI XH))))))) :: ((Zpos (XO (XI (XI (XI (XO (XI
+    XH))))))) :: []))))))))))), (((Zpos (XI (XI (XI (XI (XO (XI
+    XH))))))) :: ((Zpos (XO (XI (XI (XO (XO (XI XH))))))) :: ((Zpos (XO (XI
+    (XI (XO (XO (XI XH))))))) :: ((Zpos (XI (XI (XO (XO (XI (XI
+    XH))))))) :: ((Zpos (XI (XO (XI (XO (XO (XI XH))))))) :: ((Zpos (XO (XO
+    (XI (XO (XI (XI XH))))))) :: ((Zpos (XI (XO (XI (XI (XO
+    XH)))))) :: ((Zpos (XO (XO (XI (XO (XO (XI XH))))))) :: ((Zpos (XI (XI
+    (XI (XI (XO (XI XH))))))) :: ((Zpos (XI (XI (XI (XO (XI (XI
+    XH))))))) :: ((Zpos (XO (XI (XI (XI (XO (XI
+    XH))))))) :: []))))))))))) :: [])) :: ((((Zpos (XI (XI (XI (XI (XO (XI
+    XH))))))) :: ((Zpos (XO (XI (XI (XO (XO (XI XH))))))) :: ((Zpos (XO (XI
+    (XI (XO (XO (XI XH))))))) :: ((Zpos (XI (XI (XO (XO (XI (XI
+    XH))))))) :: ((Zpos (XI (XO (XI (XO (XO (XI XH))))))) :: ((Zpos (XO (XO
+    (XI (XO (XI (XI XH))))))) :: ((Zpos (XI (XO (XI (XI (XO
+    XH)))))) :: ((Zpos (XI (XO (XI (XI (XO (XI XH))))))) :: ((Zpos (XI (XO
+    (XO (XI (XO (XI XH))))))) :: ((Zpos (XO (XO (XI (XO (XO (XI
+    XH))))))) :: ((Zpos (XO (XO (XI (XO (XO (XI XH))))))) :: ((Zpos (XO (XO
+    (XI (XI (XO (XI XH))))))) :: ((Zpos (XI (XO (XI (XO (XO (XI
+    XH))))))) :: []))))))))))))), (((Zpos (XI (XI (XI (XI (XO (XI
+    XH))))))) :: ((Zpos (XO (XI (XI (XO (XO (XI XH))))))) :: ((Zpos (XO (XI
+    (XI (XO (XO (XI XH))))))) :: ((Zpos (XI (XI (XO (XO (XI (XI
+    XH))))))) :: ((Zpos (XI (XO (XI (XO (XO (XI XH))))))) :: ((Zpos (XO (XO
+    (XI (XO (XI (XI XH))))))) :: ((Zpos (XI (XO (XI (XI (XO
+    XH)))))) :: ((Zpos (XI (XO (XI (XI (XO (XI XH))))))) :: ((Zpos (XI (XO
+    (XO (XI (XO (XI XH))))))) :: ((Zpos (XO (XO (XI (XO (XO (XI
+    XH))))))) :: ((Zpos (XO (XO (XI (XO (XO (XI XH))))))) :: ((Zpos (XO (XO
+    (XI (XI (XO (XI XH))))))) :: ((Zpos (XI (XO (XI (XO (XO (XI
+    XH))))))) :: []))))))))))))) :: [])) :: ((((Zpos (XO (XO (XO (XO (XI (XI
+    XH))))))) :: ((Zpos (XO (XI (XO (XO (XI (XI XH))))))) :: ((Zpos (XI (XO
+    (XI (XO (XO (XI XH))))))) :: ((Zpos (XO (XI (XI (XO (XI (XI
+    XH))))))) :: ((Zpos (XI (XO (XO (XI (XO (XI XH))))))) :: ((Zpos (XI (XO
+    (XI (XO (XO (XI XH))))))) :: ((Zpos (XI (XI (XI (XO (XI (XI
+    XH))))))) :: ((Zpos (XI (XO (XI (XI (XO XH)))))) :: ((Zpos (XO (XO (XI
+    (XO (XI (XI XH))))))) :: ((Zpos (XI (XI (XI (XI (XO (XI
+    XH))))))) :: ((Zpos (XO (XO (XO (XO (XI (XI XH))))))) :: []))))))))))),
+    (((Zpos (XO (XO (XO (XO (XI (XI XH))))))) :: ((Zpos (XO (XI (XO (XO (XI
+    (XI XH))))))) :: ((Zpos (XI (XO (XI (XO (XO (XI XH))))))) :: ((Zpos (XO
+    (XI (XI (XO (XI (XI XH))))))) :: ((Zpos (XI (XO (XO (XI (XO (XI
+    XH))))))) :: ((Zpos (XI (XO (XI (XO (XO (XI XH))))))) :: ((Zpos (XI (XI
+    (XI (XO (XI (XI XH))))))) :: ((Zpos (XI (XO (XI (XI (XO
+    XH)))))) :: ((Zpos (XO (XO (XI (XO (XI (XI XH))))))) :: ((Zpos (XI (XI
+    (XI (XI (XO (XI XH))))))) :: ((Zpos (XO (XO (XO (XO (XI (XI
+    XH))))))) :: []))))))))))) :: [])) :: ((((Zpos (XO (XO (XO (XO (XI (XI
+    XH))))))) :: ((Zpos (XO (XI (XO (XO (XI (XI XH))))))) :: ((Zpos (XI (XO
+    (XI (XO (XO (XI XH))))))) :: ((Zpos (XO (XI (XI (XO (XI (XI
+    XH))))))) :: ((Zpos (XI (XO (XO (XI (XO (XI XH))))))) :: ((Zpos (XI (XO
+    (XI (XO (XO (XI XH))))))) :: ((Zpos (XI (XI (XI (XO (XI (XI
+    XH))))))) :: ((Zpos (XI (XO (XI (XI (XO XH)))))) :: ((Zpos (XO (XI (XO
+    (XO (XO (XI XH))))))) :: ((Zpos (XI (XI (XI (XI (XO (XI
+    XH))))))) :: ((Zpos (XO (XO (XI (XO (XI (XI XH))))))) :: ((Zpos (XO (XO
+    (XI (XO (XI (XI XH))))))) :: ((Zpos (XI (XI (XI (XI (XO (XI
+    XH))))))) :: ((Zpos (XI (XO (XI (XI (XO (XI
+    XH))))))) :: [])))))))))))))), (((Zpos (XO (XO (XO (XO (XI (XI
+    XH))))))) :: ((Zpos (XO (XI (XO (XO (XI (XI XH))))))) :: ((Zpos (XI (XO
+    (XI (XO (XO (XI XH))))))) :: ((Zpos (XO (XI (XI (XO (XI (XI
+    XH))))))) :: ((Zpos (XI (XO (XO (XI (XO (XI XH))))))) :: ((Zpos (XI (XO
+    (XI (XO (XO (XI XH))))))) :: ((Zpos (XI (XI (XI (XO (XI (XI
+    XH))))))) :: ((Zpos (XI (XO (XI (XI (XO XH)))))) :: ((Zpos (XO (XI (XO
+    (XO (XO (XI XH))))))) :: ((Zpos (XI (XI (XI (XI (XO (XI
+    XH))))))) :: ((Zpos (XO (XO (XI (XO (XI (XI XH))))))) :: ((Zpos (XO (XO
+    (XI (XO (XI (XI XH))))))) :: ((Zpos (XI (XI (XI (XI (XO (XI
+    XH))))))) :: ((Zpos (XI (XO (XI (XI (XO (XI
+    XH))))))) :: [])))))))))))))) :: [])) :: ((((Zpos (XO (XO (XO (XO (XI (XI
+    XH))))))) :: ((Zpos (XO (XI (XO (XO (XI (XI XH))))))) :: ((Zpos (XI (XO
+    (XI (XO (XO (XI XH))))))) :: ((Zpos (XO (XI (XI (XO (XI (XI
+    XH))))))) :: ((Zpos (XI (XO (XO (XI (XO (XI XH))))))) :: ((Zpos (XI (XO
+    (XI (XO (XO (XI XH))))))) :: ((Zpos (XI (XI (XI (XO (XI (XI
+    XH))))))) :: ((Zpos (XI (XO (XI (XI (XO XH)))))) :: ((Zpos (XI (XO (XI
+    (XO (XI (XI XH))))))) :: ((Zpos (XO (XO (XO (XO (XI (XI
+    XH))))))) :: [])))))))))), (((Zpos (XO (XO (XO (XO (XI (XI
+    XH))))))) :: ((Zpos (XO (XI (XO (XO (XI (XI XH))))))) :: ((Zpos (XI (XO
+    (XI (XO (XO (XI XH))))))) :: ((Zpos (XO (XI (XI (XO (XI (XI
+    XH))))))) :: ((Zpos (XI (XO (XO (XI (XO (XI XH))))))) :: ((Zpos (XI (XO
+    (XI (XO (XO (XI XH))))))) :: ((Zpos (XI (XI (XI (XO (XI (XI
+    XH))))))) :: ((Zpos (XI (XO (XI (XI (XO XH)))))) :: ((Zpos (XI (XO (XI
+    (XO (XI (XI XH))))))) :: ((Zpos (XO (XO (XO (XO (XI (XI
+    XH))))))) :: [])))))))))) :: [])) :: ((((Zpos (XO (XO (XO (XO (XI (XI
+    XH))))))) :: ((Zpos (XO (XI (XO (XO (XI (XI XH))))))) :: ((Zpos (XI (XO
+    (XI (XO (XO (XI XH))))))) :: ((Zpos (XO (XI (XI (XO (XI (XI
+    XH))))))) :: ((Zpos (XI (XO (XO (XI (XO (XI XH))))))) :: ((Zpos (XI (XO
+    (XI (XO (XO (XI XH))))))) :: ((Zpos (XI (XI (XI (XO (XI (XI
+    XH))))))) :: ((Zpos (XI (XO (XI (XI (XO XH)))))) :: ((Zpos (XO (XO (XI
+    (XO (XO (XI XH))))))) :: ((Zpos (XI (XI (XI (XI (XO (XI
+    XH))))))) :: ((Zpos (XI (XI (XI (XO (XI (XI XH))))))) :: ((Zpos (XO (XI
+    (XI (XI (XO (XI XH))))))) :: [])))))))))))), (((Zpos (XO (XO (XO (XO (XI
+    (XI XH))))))) :: ((Zpos (XO (XI (XO (XO (XI (XI XH))))))) :: ((Zpos (XI
+    (XO (XI (XO (XO (XI XH))))))) :: ((Zpos (XO (XI (XI (XO (XI (XI
+    XH))))))) :: ((Zpos (XI (XO (XO (XI (XO (XI XH))))))) :: ((Zpos (XI (XO
+    (XI (XO (XO (XI XH))))))) :: ((Zpos (XI (XI (XI (XO (XI (XI
+    XH))))))) :: ((Zpos (XI (XO (XI (XI (XO XH)))))) :: ((Zpos (XO (XO (XI
+    (XO (XO (XI XH))))))) :: ((Zpos (XI (XI (XI (XI (XO (XI
+    XH))))))) :: ((Zpos (XI (XI (XI (XO (XI (XI XH))))))) :: ((Zpos (XO (XI
+    (XI (XI (XO (XI XH))))))) :: [])))))))))))) :: [])) :: ((((Zpos (XO (XO
+    (XO (XO (XI (XI XH))))))) :: ((Zpos (XO (XI (XO (XO (XI (XI
+    XH))))))) :: ((Zpos (XI (XO (XI (XO (XO (XI XH))))))) :: ((Zpos (XO (XI
+    (XI (XO (XI (XI XH))))))) :: ((Zpos (XI (XO (XO (XI (XO (XI
+    XH))))))) :: ((Zpos (XI (XO (XI (XO (XO (XI XH))))))) :: ((Zpos (XI (XI
+    (XI (XO (XI (XI XH))))))) :: ((Zpos (XI (XO (XI (XI (XO
+    XH)))))) :: ((Zpos (XO (XO (XO (XO (XI (XI XH))))))) :: ((Zpos (XI (XO
+    (XO (XO (XO (XI XH))))))) :: ((Zpos (XI (XI (XI (XO (XO (XI
+    XH))))))) :: ((Zpos (XI (XO (XI (XO (XO (XI XH))))))) :: ((Zpos (XI (XO
+    (XI (XI (XO XH)))))) :: ((Zpos (XI (XO (XI (XO (XI (XI
+    XH))))))) :: ((Zpos (XO (XO (XO (XO (XI (XI
+    XH))))))) :: []))))))))))))))), (((Zpos (XO (XO (XO (XO (XI (XI
+    XH))))))) :: ((Zpos (XO (XI (XO (XO (XI (XI XH))))))) :: ((Zpos (XI (XO
+    (XI (XO (XO (XI XH))))))) :: ((Zpos (XO (XI (XI (XO (XI (XI
+    XH))))))) :: ((Zpos (XI (XO (XO (XI (XO (XI XH))))))) :: ((Zpos (XI (XO
+    (XI (XO (XO (XI XH))))))) :: ((Zpos (XI (XI (XI (XO (XI (XI
+    XH))))))) :: ((Zpos (XI (XO (XI (XI (XO XH)))))) :: ((Zpos (XO (XO (XO
+    (XO (XI (XI XH))))))) :: ((Zpos (XI (XO (XO (XO (XO (XI
+    XH))))))) :: ((Zpos (XI (XI (XI (XO (XO (XI XH))))))) :: ((Zpos (XI (XO
+    (XI (XO (XO (XI XH))))))) :: ((Zpos (XI (XO (XI (XI (XO
+    XH)))))) :: ((Zpos (XI (XO (XI (XO (XI (XI XH))))))) :: ((Zpos (XO (XO
+    (XO (XO (XI (XI XH))))))) :: []))))))))))))))) :: [])) :: ((((Zpos (XO
+    (XO (XO (XO (XI (XI XH))))))) :: ((Zpos (XO (XI (XO (XO (XI (XI
+    XH))))))) :: ((Zpos (XI (XO (XI (XO (XO (XI XH))))))) :: ((Zpos (XO (XI
+    (XI (XO (XI (XI XH))))))) :: ((Zpos (XI (XO (XO (XI (XO (XI
+    XH))))))) :: ((Zpos (XI (XO (XI (XO (XO (XI XH))))))) :: ((Zpos (XI (XI
+    (XI (XO (XI (XI XH))))))) :: ((Zpos (XI (XO (XI (XI (XO
+    XH)))))) :: ((Zpos (XO (XO (XO (XO (XI (XI XH))))))) :: ((Zpos (XI (XO
+    (XO (XO (XO (XI XH))))))) :: ((Zpos (XI (XI (XI (XO (XO (XI
+    XH))))))) :: ((Zpos (XI (XO (XI (XO (XO (XI XH))))))) :: ((Zpos (XI (XO
+    (XI (XI (XO XH)))))) :: ((Zpos (XO (XO (XI (XO (XO (XI
+    XH))))))) :: ((Zpos (XI (XI (XI (XI (XO (XI XH))))))) :: ((Zpos (XI (XI
+    (XI (XO (XI (XI XH))))))) :: ((Zpos (XO (XI (XI (XI (XO (XI
+    XH))))))) :: []))))))))))))))))), (((Zpos (XO (XO (XO (XO (XI (XI
+    XH))))))) :: ((Zpos (XO (XI (XO (XO (XI (XI XH))))))) :: ((Zpos (XI (XO
+    (XI (XO (XO (XI XH))))))) :: ((Zpos (XO (XI (XI (XO (XI (XI
+    XH))))))) :: ((Zpos (XI (XO (XO (XI (XO (XI XH))))))) :: ((Zpos (XI (XO
+    (XI (XO (XO (XI XH))))))) :: ((Zpos (XI (XI (XI (XO (XI (XI
+    XH))))))) :: ((Zpos (XI (XO (XI (XI (XO XH)))))) :: ((Zpos (XO (XO (XO
+    (XO (XI (XI XH))))))) :: ((Zpos (XI (XO (XO (XO (XO (XI
+    XH))))))) :: ((Zpos (XI (XI (XI (XO (XO (XI XH))))))) :: ((Zpos (XI (XO
+    (XI (XO (XO (XI XH))))))) :: ((Zpos (XI (XO (XI (XI (XO
+    XH)))))) :: ((Zpos (XO (XO (XI (XO (XO (XI XH))))))) :: ((Zpos (XI (XI
+    (XI (XI (XO (XI XH))))))) :: ((Zpos (XI (XI (XI (XO (XI (XI
+    XH))))))) :: ((Zpos (XO (XI (XI (XI (XO (XI
+    XH))))))) :: []))))))))))))))))) :: [])) :: ((((Zpos (XO (XO (XO (XO (XI
+    (XI XH))))))) :: ((Zpos (XO (XI (XO (XO (XI (XI XH))))))) :: ((Zpos (XI
+    (XO (XI (XO (XO (XI XH))))))) :: ((Zpos (XO (XI (XI (XO (XI (XI
+    XH))))))) :: ((Zpos (XI (XO (XO (XI (XO (XI XH))))))) :: ((Zpos (XI (XO
+    (XI (XO (XO (XI XH))))))) :: ((Zpos (XI (XI (XI (XO (XI (XI
+    XH))))))) :: ((Zpos (XI (XO (XI (XI (XO XH)))))) :: ((Zpos (XO (XO (XO
+    (XI (XO (XI XH))))))) :: ((Zpos (XI (XO (XO (XO (XO (XI
+    XH))))))) :: ((Zpos (XO (XO (XI (XI (XO (XI XH))))))) :: ((Zpos (XO (XI
+    (XI (XO (XO (XI XH))))))) :: ((Zpos (XI (XO (XI (XI (XO
+    XH)))))) :: ((Zpos (XO (XO (XO (XO (XI (XI XH))))))) :: ((Zpos (XI (XO
+    (XO (XO (XO (XI XH))))))) :: ((Zpos (XI (XI (XI (XO (XO (XI
+    XH))))))) :: ((Zpos (XI (XO (XI (XO (XO (XI XH))))))) :: ((Zpos (XI (XO
+    (XI (XI (XO XH)))))) :: ((Zpos (XI (XO (XI (XO (XI (XI
+    XH))))))) :: ((Zpos (XO (XO (XO (XO (XI (XI
+    XH))))))) :: [])))))))))))))))))))), (((Zpos (XO (XO (XO (XO (XI (XI
+    XH))))))) :: ((Zpos (XO (XI (XO (XO (XI (XI XH))))))) :: ((Zpos (XI (XO
+    (XI (XO (XO (XI XH))))))) :: ((Zpos (XO (XI (XI (XO (XI (XI
+    XH))))))) :: ((Zpos (XI (XO (XO (XI (XO (XI XH))))))) :: ((Zpos (XI (XO
+    (XI (XO (XO (XI XH))))))) :: ((Zpos (XI (XI (XI (XO (XI (XI
+    XH))))))) :: ((Zpos (XI (XO (XI (XI (XO XH)))))) :: ((Zpos (XO (XO (XO
+    (XI (XO (XI XH))))))) :: ((Zpos (XI (XO (XO (XO (XO (XI
+    XH))))))) :: ((Zpos (XO (XO (XI (XI (XO (XI XH))))))) :: ((Zpos (XO (XI
+    (XI (XO (XO (XI XH))))))) :: ((Zpos (XI (XO (XI (XI (XO
+    XH)))))) :: ((Zpos (XO (XO (XO (XO (XI (XI XH))))))) :: ((Zpos (XI (XO
+    (XO (XO (XO (XI XH))))))) :: ((Zpos (XI (XI (XI (XO (XO (XI
+    XH))))))) :: ((Zpos (XI (XO (XI (XO (XO (XI XH))))))) :: ((Zpos (XI (XO
+    (XI (XI (XO XH)))))) :: ((Zpos (XI (XO (XI (XO (XI (XI
+    XH))))))) :: ((Zpos (XO (XO (XO (XO (XI (XI
+    XH))))))) :: [])))))))))))))))))))) :: [])) :: ((((Zpos (XO (XO (XO (XO
+    (XI (XI XH))))))) :: ((Zpos (XO (XI (XO (XO (XI (XI XH))))))) :: ((Zpos
+    (XI (XO (XI (XO (XO (XI XH))))))) :: ((Zpos (XO (XI (XI (XO (XI (XI
+    XH))))))) :: ((Zpos (XI (XO (XO (XI (XO (XI XH))))))) :: ((Zpos (XI (XO
+    (XI (XO (XO (XI XH))))))) :: ((Zpos (XI (XI (XI (XO (XI (XI
+    XH))))))) :: ((Zpos (XI (XO (XI (XI (XO XH)))))) :: ((Zpos (XO (XO (XO
+    (XI (XO (XI XH))))))) :: ((Zpos (XI (XO (XO (XO (XO (XI
+    XH))))))) :: ((Zpos (XO (XO (XI (XI (XO (XI XH))))))) :: ((Zpos (XO (XI
+    (XI (XO (XO (XI XH))))))) :: ((Zpos (XI (XO (XI (XI (XO
+    XH)))))) :: ((Zpos (XO (XO (XO (XO (XI (XI XH))))))) :: ((Zpos (XI (XO
+    (XO (XO (XO (XI XH))))))) :: ((Zpos (XI (XI (XI (XO (XO (XI
+    XH))))))) :: ((Zpos (XI (XO (XI (XO (XO (XI XH))))))) :: ((Zpos (XI (XO
+    (XI (XI (XO XH)))))) :: ((Zpos (XO (XO (XI (XO (XO (XI
+    XH))))))) :: ((Zpos (XI (XI (XI (XI (XO (XI XH))))))) :: ((Zpos (XI (XI
+    (XI (XO (XI (XI XH))))))) :: ((Zpos (XO (XI (XI (XI (XO (XI
+    XH))))))) :: [])))))))))))))))))))))), (((Zpos (XO (XO (XO (XO (XI (XI
+    XH))))))) :: ((Zpos (XO (XI (XO (XO (XI (XI XH))))))) :: ((Zpos (XI (XO
+    (XI (XO (XO (XI XH))))))) :: ((Zpos (XO (XI (XI (XO (XI (XI
+    XH))))))) :: ((Zpos (XI (XO (XO (XI (XO (XI XH))))))) :: ((Zpos (XI (XO
+    (XI (XO (XO (XI XH))))))) :: ((Zpos (XI (XI (XI (XO (XI (XI
+    XH))))))) :: ((Zpos (XI (XO (XI (XI (XO XH)))))) :: ((Zpos (XO (XO (XO
+    (XI (XO (XI XH))))))) :: ((Zpos (XI (XO (XO (XO (XO (XI
+    XH))))))) :: ((Zpos (XO (XO (XI (XI (XO (XI XH))))))) :: ((Zpos (XO (XI
+    (XI (XO (XO (XI XH))))))) :: ((Zpos (XI (XO (XI (XI (XO
+    XH)))))) :: ((Zpos (XO (XO (XO (XO (XI (XI XH))))))) :: ((Zpos (XI (XO
+    (XO (XO (XO (XI XH))))))) :: ((Zpos (XI (XI (XI (XO (XO (XI
+    XH))))))) :: ((Zpos (XI (XO (XI (XO (XO (XI XH))))))) :: ((Zpos (XI (XO
+    (XI (XI (XO XH)))))) :: ((Zpos (XO (XO (XI (XO (XO (XI
+    XH))))))) :: ((Zpos (XI (XI (XI (XI (XO (XI XH))))))) :: ((Zpos (XI (XI
+    (XI (XO (XI (XI XH))))))) :: ((Zpos (XO (XI (XI (XI (XO (XI
+    XH))))))) :: [])))))))))))))))))))))) :: [])) :: ((((Zpos (XI (XO (XI (XO
+    (XO (XI XH))))))) :: ((Zpos (XO (XI (XI (XI (XO (XI XH))))))) :: ((Zpos
+    (XI (XO (XO (XO (XO (XI XH))))))) :: ((Zpos (XO (XI (XO (XO (XO (XI
+    XH))))))) :: ((Zpos (XO (XO (XI (XI (XO (XI XH))))))) :: ((Zpos (XI (XO
+    (XI (XO (XO (XI XH))))))) :: ((Zpos (XI (XO (XI (XI (XO
+    XH)))))) :: ((Zpos (XI (XI (XO (XO (XI (XI XH))))))) :: ((Zpos (XI (XO
+    (XI (XO (XO (XI XH))))))) :: ((Zpos (XI (XO (XO (XO (XO (XI
+    XH))))))) :: ((Zpos (XO (XI (XO (XO (XI (XI XH))))))) :: ((Zpos (XI (XI
+    (XO (XO (XO (XI XH))))))) :: ((Zpos (XO (XO (XO (XI (XO (XI
+    XH))))))) :: []))))))))))))), (((Zpos (XI (XO (XI (XO (XO (XI
+    XH))))))) :: ((Zpos (XO (XI (XI (XI (XO (XI XH))))))) :: ((Zpos (XI (XO
+    (XO (XO (XO (XI XH))))))) :: ((Zpos (XO (XI (XO (XO (XO (XI
+    XH))))))) :: ((Zpos (XO (XO (XI (XI (XO (XI XH))))))) :: ((Zpos (XI (XO
+    (XI (XO (XO (XI XH))))))) :: ((Zpos (XI (XO (XI (XI (XO
+    XH)))))) :: ((Zpos (XI (XI (XO (XO (XI (XI XH))))))) :: ((Zpos (XI (XO
+    (XI (XO (XO (XI XH))))))) :: ((Zpos (XI (XO (XO (XO (XO (XI
+    XH))))))) :: ((Zpos (XO (XI (XO (XO (XI (XI XH))))))) :: ((Zpos (XI (XI
+    (XO (XO (XO (XI XH))))))) :: ((Zpos (XO (XO (XO (XI (XO (XI
+    XH))))))) :: []))))))))))))) :: [])) :: ((((Zpos (XO (XO (XI (XO (XO (XI
+    XH))))))) :: ((Zpos (XI (XO (XO (XI (XO (XI XH))))))) :: ((Zpos (XI (XI
+    (XO (XO (XI (XI XH))))))) :: ((Zpos (XI (XO (XO (XO (XO (XI
+    XH))))))) :: ((Zpos (XO (XI (XO (XO (XO (XI XH))))))) :: ((Zpos (XO (XO
+    (XI (XI (XO (XI XH))))))) :: ((Zpos (XI (XO (XI (XO (XO (XI
+    XH))))))) :: ((Zpos (XI (XO (XI (XI (XO XH)))))) :: ((Zpos (XI (XI (XO
+    (XO (XI (XI XH))))))) :: ((Zpos (XI (XO (XI (XO (XO (XI
+    XH))))))) :: ((Zpos (XI (XO (XO (XO (XO (XI XH))))))) :: ((Zpos (XO (XI
+    (XO (XO (XI (XI XH))))))) :: ((Zpos (XI (XI (XO (XO (XO (XI
+    XH))))))) :: ((Zpos (XO (XO (XO (XI (XO (XI
+    XH))))))) :: [])))))))))))))), (((Zpos (XO (XO (XI (XO (XO (XI
+    XH))))))) :: ((Zpos (XI (XO (XO (XI (XO (XI XH))))))) :: ((Zpos (XI (XI
+    (XO (XO (XI (XI XH))))))) :: ((Zpos (XI (XO (XO (XO (XO (XI
+    XH))))))) :: ((Zpos (XO (XI (XO (XO (XO (XI XH))))))) :: ((Zpos (XO (XO
+    (XI (XI (XO (XI XH))))))) :: ((Zpos (XI (XO (XI (XO (XO (XI
+    XH))))))) :: ((Zpos (XI (XO (XI (XI (XO XH)))))) :: ((Zpos (XI (XI (XO
+    (XO (XI (XI XH))))))) :: ((Zpos (XI (XO (XI (XO (XO (XI
+    XH))))))) :: ((Zpos (XI (XO (XO (XO (XO (XI XH))))))) :: ((Zpos (XO (XI
+    (XO (XO (XI (XI XH))))))) :: ((Zpos (XI (XI (XO (XO (XO (XI
+    XH))))))) :: ((Zpos (XO (XO (XO (XI (XO (XI
+    XH))))))) :: [])))))))))))))) :: [])) :: ((((Zpos (XO (XI (XO (XO (XO (XI
+    XH))))))) :: ((Zpos (XI (XO (XI (XO (XO (XI XH))))))) :: ((Zpos (XO (XO
+    (XI (XI (XO (XI XH))))))) :: ((Zpos (XO (XO (XI (XI (XO (XI
+    XH))))))) :: [])))), (((Zpos (XO (XI (XO (XO (XO (XI XH))))))) :: ((Zpos
+    (XI (XO (XI (XO (XO (XI XH))))))) :: ((Zpos (XO (XO (XI (XI (XO (XI
+    XH))))))) :: ((Zpos (XO (XO (XI (XI (XO (XI
+    XH))))))) :: [])))) :: [])) :: ((((Zpos (XI (XO (XI (XO (XO (XI
+    XH))))))) :: ((Zpos (XO (XO (XO (XI (XI (XI XH))))))) :: ((Zpos (XI (XI
+    (XO (XO (XO (XI XH))))))) :: ((Zpos (XO (XO (XI (XI (XO (XI
+    XH))))))) :: ((Zpos (XI (XO (XI (XO (XI (XI XH))))))) :: ((Zpos (XO (XO
+    (XI (XO (XO (XI XH))))))) :: ((Zpos (XI (XO (XI (XO (XO (XI
+    XH))))))) :: []))))))), (((Zpos (XI (XO (XI (XO (XO (XI
+    XH))))))) :: ((Zpos (XO (XO (XO (XI (XI (XI XH))))))) :: ((Zpos (XI (XI
+    (XO (XO (XO (XI XH))))))) :: ((Zpos (XO (XO (XI (XI (XO (XI
+    XH))))))) :: ((Zpos (XI (XO (XI (XO (XI (XI XH))))))) :: ((Zpos (XO (XO
+    (XI (XO (XO (XI XH))))))) :: ((Zpos (XI (XO (XI (XO (XO (XI
+    XH))))))) :: []))))))) :: [])) :: ((((Zpos (XI (XO (XI (XO (XO (XI
+    XH))))))) :: ((Zpos (XO (XO (XO (XI (XI (XI XH))))))) :: ((Zpos (XI (XI
+    (XO (XO (XO (XI XH))))))) :: ((Zpos (XO (XO (XI (XI (XO (XI
+    XH))))))) :: ((Zpos (XI (XO (XI (XO (XI (XI XH))))))) :: ((Zpos (XO (XO
+    (XI (XO (XO (XI XH))))))) :: ((Zpos (XI (XO (XI (XO (XO (XI
+    XH))))))) :: ((Zpos (XI (XO (XI (XI (XO XH)))))) :: ((Zpos (XI (XO (XI
+    (XI (XO (XI XH))))))) :: ((Zpos (XI (XO (XI (XO (XI (XI
+    XH))))))) :: ((Zpos (XO (XO (XI (XI (XO (XI XH))))))) :: ((Zpos (XO (XO
+    (XI (XO (XI (XI XH))))))) :: ((Zpos (XI (XO (XO (XI (XO (XI
+    XH))))))) :: []))))))))))))), (((Zpos (XI (XO (XI (XO (XO (XI
+    XH))))))) :: ((Zpos (XO (XO (XO (XI (XI (XI XH))))))) :: ((Zpos (XI (XI
+    (XO (XO (XO (XI XH))))))) :: ((Zpos (XO (XO (XI (XI (XO (XI
+    XH))))))) :: ((Zpos (XI (XO (XI (XO (XI (XI XH))))))) :: ((Zpos (XO (XO
+    (XI (XO (XO (XI XH))))))) :: ((Zpos (XI (XO (XI (XO (XO (XI
+    XH))))))) :: ((Zpos (XI (XO (XI (XI (XO XH)))))) :: ((Zpos (XI (XO (XI
+    (XI (XO (XI XH))))))) :: ((Zpos (XI (XO (XI (XO (XI (XI
+    XH))))))) :: ((Zpos (XO (XO (XI (XI (XO (XI XH))))))) :: ((Zpos (XO (XO
+    (XI (XO (XI (XI XH))))))) :: ((Zpos (XI (XO (XO (XI (XO (XI
+    XH))))))) :: []))))))))))))) :: [])) :: [])))))))))))))))))))))))))))))))))))))))))))))))))))))))))))))))))))))))))))))))))))))))))))))
+
+(** val is_execute_action : str -> str option res **)
+
+let is_execute_action low =
+  bind (mask_action_contents (cOLON :: low)) (fun m ->
+    match m with
+    | [] -> Err OutOfRange
+    | _ :: masked ->
+      if str_eqb masked low
+      then Ok None
+      else Ok (assoc_str (name_prefix low) arg_actions))
+
+(** val check_arg : str -> str -> unit outcome **)
+
+let check_arg canon arg0 =
+  if mem_str canon key_arg_actions
+  then (match parse_key_chords arg0 with
+        | Good _ -> Good ()
+        | Bad e -> Bad e)
+  else Good ()
+
+(** val pal_loop :
+    str list -> bool -> str -> action list -> action list -> bool -> action
+    list outcome res **)
+
+let rec pal_loop specs first prev_spec acc prev_actions put_allowed =
+  match specs with
+  | [] -> Ok (Good acc)
+  | sp :: rest ->
+    let spec = app prev_spec sp in
+    let low = to_lower spec in
+    (match assoc_str low switch_table with
+     | Some canon ->
+       if (&&) (str_eqb low s_put) (negb put_allowed)
+       then Ok (Bad e_PUT)
+       else pal_loop rest false [] (app acc (map (fun c -> (c, [])) canon))
+              prev_actions put_allowed
+     | None ->
+       bind (is_execute_action low) (fun t0 ->
+         match t0 with
+         | Some canon ->
+           let offset = length (name_prefix spec) in
+           bind (get spec offset) (fun c ->
+             if Z.eqb c cOLON
+             then (match rest with
+                   | [] ->
+                     let arg0 = skipn (S offset) spec in
+                     (match check_arg canon arg0 with
+                      | Good _ ->
+                        pal_loop rest false []
+                          (app acc ((canon, arg0) :: [])) prev_actions
+                          put_allowed
+                      | Bad e -> Ok (Bad e))
+                   | _ :: _ ->
+                     pal_loop rest false (app spec (pLUS :: [])) acc
+                       prev_actions put_allowed)
+             else if Nat.leb (S offset) (sub (length spec) (S O))
+                  then let arg0 =
+                         firstn (sub (sub (length spec) (S O)) (S offset))
+                           (skipn (S offset) spec)
+                       in
+                       (match check_arg canon arg0 with
+                        | Good _ ->
+                          pal_loop rest false []
+                            (app acc ((canon, arg0) :: [])) prev_actions
+                            put_allowed
+                        | Bad e -> Ok (Bad e))
+                  else Err Panic)
+         | None ->
+           if (&&) first (negb (nonemptyb low))
+           then pal_loop rest false [] (app prev_actions acc) prev_actions
+                  put_allowed
+           else if str_eqb low s_change_multi
+                then pal_loop rest false []
+                       (app acc ((s_change_multi, []) :: [])) prev_actions
+                       put_allowed
+                else Ok (Bad e_UNKNOWN_ACTION)))
+
+(** val split2_aux :
+    z -> (z * z) list -> (z * z) list -> (z * z) list list **)
+
+let rec split2_aux sep cur = function
+| [] -> (rev cur) :: []
+| c :: r ->
+  if Z.eqb (fst c) sep
+  then (rev cur) :: (split2_aux sep [] r)
+  else split2_aux sep (c :: cur) r
+
+(** val split2 : z -> (z * z) list -> (z * z) list list **)
+
+let split2 sep s =
+  split2_aux sep [] s
+
+(** val parse_action_list :
+    str -> str -> action list -> bool -> action list outcome res **)
+
+let parse_action_list masked original prev put_allowed =
+  if Nat.eqb (length masked) (length original)
+  then pal_loop (map (map snd) (split2 pLUS (combine masked original))) true
+         [] [] prev put_allowed
+  else Err Panic
+
+(** val parse_single_action_list : str -> action list outcome res **)
+
+let parse_single_action_list s =
+  bind (mask_action_contents (cOLON :: s)) (fun m ->
+    match m with
+    | [] -> Err OutOfRange
+    | _ :: masked -> parse_action_list masked s [] false)
+
+(** val break_colon :
+    (z * z) list -> (z * z) list -> (z * z) list * (z * z) list option **)
+
+let rec break_colon cur = function
+| [] -> ((rev cur), None)
+| c :: r ->
+  if Z.eqb (fst c) cOLON
+  then ((rev cur), (Some r))
+  else break_colon (c :: cur) r
+
+(** val key_of_name : str -> key outcome **)
+
+let key_of_name name = match name with
+| [] ->
+  (match parse_key_chords name with
+   | Good a -> (match a with
+                | [] -> Good (KRune Z0)
+                | k :: _ -> Good k)
+   | Bad e -> Bad e)
+| c :: l ->
+  (match l with
+   | [] ->
+     if Z.eqb c eSC_COLON
+     then Good (KRune cOLON)
+     else if Z.eqb c eSC_COMMA
+          then Good (KRune cOMMA)
+          else if Z.eqb c eSC_PLUS
+               then Good (KRune pLUS)
+               else (match parse_key_chords name with
+                     | Good a ->
+                       (match a with
+                        | [] -> Bad e_UNSUPPORTED_KEY
+                        | k :: _ -> Good k)
+                     | Bad e -> Bad e)
+   | _ :: _ ->
+     (match parse_key_chords name with
+      | Good a -> (match a with
+                   | [] -> Good (KRune Z0)
+                   | k :: _ -> Good k)
+      | Bad e -> Bad e))
+
+(** val put_allowed_for : key -> bool **)
+
+let put_allowed_for = function
+| KRune r ->
+  (&&) (Z.leb (Zpos (XO (XO (XO (XO (XO XH)))))) r)
+    (Z.leb r (Zpos (XO (XI (XI (XI (XI (XI XH))))))))
+| _ -> false
+
+(** val bind_keys : str list -> keymap -> str -> str -> keymap outcome res **)
+
+let rec bind_keys keys m masked_acts orig_acts =
+  match keys with
+  | [] -> Ok (Good m)
+  | kn :: r ->
+    (match key_of_name kn with
+     | Good k ->
+       bind
+         (parse_action_list masked_acts orig_acts (km_get m k)
+           (put_allowed_for k)) (fun o ->
+         match o with
+         | Good acts -> bind_keys r (km_set m k acts) masked_acts orig_acts
+         | Bad e -> Ok (Bad e))
+     | Bad e -> Ok (Bad e))
+
+(** val keymap_loop :
+    (z * z) list list -> str list -> keymap -> keymap outcome res **)
+
+let rec keymap_loop pieces keys m =
+  match pieces with
+  | [] -> (match keys with
+           | [] -> Ok (Good m)
+           | _ :: _ -> Ok (Bad e_NO_ACTION))
+  | p :: r ->
+    let (k, rest) = break_colon [] p in
+    (match k with
+     | [] -> Ok (Bad e_KEY_REQUIRED)
+     | _ :: _ ->
+       let keys0 = app keys ((map fst k) :: []) in
+       (match rest with
+        | Some acts ->
+          bind (bind_keys keys0 m (map fst acts) (map snd acts)) (fun o ->
+            match o with
+            | Good m' -> keymap_loop r [] m'
+            | Bad e -> Ok (Bad e))
+        | None -> keymap_loop r keys0 m))
+
+(** val parse_keymap : keymap -> str -> keymap outcome res **)
+
+let parse_keymap m s =
+  bind (mask_action_contents s) (fun masked ->
+    if Nat.eqb (length masked) (length s)
+    then keymap_loop (split2 cOMMA (combine masked s)) [] m
+    else Err Panic)
+
+(** val parse_keymaps : keymap -> str list -> keymap outcome res **)
+
+let rec parse_keymaps m = function
+| [] -> Ok (Good m)
+| s :: r ->
+  bind (parse_keymap m s) (fun o ->
+    match o with
+    | Good m' -> parse_keymaps m' r
+    | Bad e -> Ok (Bad e))
+
+(** val enc_key : key -> val0 **)
+
+let enc_key = function
+| KRune r -> VL ((VI Z0) :: ((VI r) :: ((VL []) :: [])))
+| KCtrl i -> VL ((VI (Zpos XH)) :: ((VI i) :: ((VL []) :: [])))
+| KNamed n -> VL ((VI (Zpos (XO XH))) :: ((VI Z0) :: ((vstr n) :: [])))
+| KF n -> VL ((VI (Zpos (XI XH))) :: ((VI n) :: ((VL []) :: [])))
+| KAlt r -> VL ((VI (Zpos (XO (XO XH)))) :: ((VI r) :: ((VL []) :: [])))
+| KCtrlAlt r -> VL ((VI (Zpos (XI (XO XH)))) :: ((VI r) :: ((VL []) :: [])))
+
+(** val enc_action : action -> val0 **)
+
+let enc_action a =
+  VL ((vstr (fst a)) :: ((vstr (snd a)) :: []))
+
+(** val enc_keymap : keymap -> val0 **)
+
+let enc_keymap m =
+  VL
+    (map (fun e -> VL ((enc_key (fst e)) :: ((VL
+      (map enc_action (snd e))) :: []))) m)
+
+(** val enc_out : ('a1 -> val0) -> 'a1 outcome res -> val0 **)
+
+let enc_out f = function
+| Ok a0 ->
+  (match a0 with
+   | Good a -> VL ((VI (Zpos XH)) :: ((f a) :: []))
+   | Bad e -> VL ((VI Z0) :: ((VI e) :: [])))
+| Err _ -> verr
+
+(** val dec_act : val0 -> act **)
+
+let dec_act v =
+  if Z.eqb (as_int (arg v O)) Z0
+  then ASimple (as_str (arg v (S O)))
+  else AArg ((as_str (arg v (S O))),
+         (if Z.eqb (as_int (arg v (S (S O)))) Z0
+          then FColon
+          else FPair ((as_int (arg v (S (S O)))),
+                 (as_int (arg v (S (S (S O))))))),
+         (as_str (arg v (S (S (S (S O)))))))
+
+(** val dec_pair : val0 -> bpair **)
+
+let dec_pair v =
+  ((as_strs (arg v O)), (map dec_act (as_list (arg v (S O)))))
+
+(** val dec_bind : val0 -> bind0 **)
+
+let dec_bind v =
+  map dec_pair (as_list v)
+
+(** val dispatch_bind : z -> val0 -> val0 option **)
+
+let dispatch_bind op a =
+  if Z.eqb op (Zpos (XI (XO (XI (XO (XO (XI (XO (XI (XO (XI XH)))))))))))
+  then Some (enc_out enc_keymap (parse_keymaps [] (as_strs a)))
+  else if Z.eqb op (Zpos (XO (XI (XI (XO (XO (XI (XO (XI (XO (XI XH)))))))))))
+       then let bd = dec_bind a in
+            Some (VL
+            ((vstr (render bd)) :: ((vbool (wf_bind bd)) :: ((enc_keymap
+                                                               (denote [] bd)) :: []))))
+       else if Z.eqb op (Zpos (XI (XI (XI (XO (XO (XI (XO (XI (XO (XI
+                 XH)))))))))))
+            then Some
+                   (match mask_action_contents (as_str a) with
+                    | Ok m -> VL ((vstr m) :: [])
+                    | Err _ -> verr)
+            else if Z.eqb op (Zpos (XO (XO (XO (XI (XO (XI (XO (XI (XO (XI
+                      XH)))))))))))
+                 then Some
+                        (enc_out (fun l -> VL (map enc_action l))
+                          (parse_single_action_list (as_str a)))
+                 else if Z.eqb op (Zpos (XI (XO (XO (XI (XO (XI (XO (XI (XO
+                           (XI XH)))))))))))
+                      then Some
+                             (enc_out (fun l -> VL (map enc_key l)) (Ok
+                               (parse_key_chords (as_str a))))
+                      else None
+
 (** val nL : z **)
 
 let nL =
@@ -2748,10 +8966,10 @@ let as_fs v =
 (** val as_sop : val0 -> sop **)
 
 let as_sop v =
-  let t = as_int (arg v O) in
-  if Z.eqb t Z0
+  let t0 = as_int (arg v O) in
+  if Z.eqb t0 Z0
   then Edit (as_str (arg v (S O)))
-  else if Z.eqb t (Zpos XH) then Prev else Next
+  else if Z.eqb t0 (Zpos XH) then Prev else Next
 
 (** val as_session : val0 -> session **)
 
@@ -2795,6 +9013,3238 @@ let dispatch_history op a =
        else if Z.eqb op (Zpos (XI (XI (XO (XI (XO (XO (XO (XO (XI (XI
                  XH)))))))))))
             then Some (vstrs (entries (as_str a)))
+            else None
+
+type field = nat
+
+(** val f_FUZZY : field **)
+
+let f_FUZZY =
+  O
+
+(** val f_EXTENDED : field **)
+
+let f_EXTENDED =
+  S O
+
+(** val f_NORMALIZE : field **)
+
+let f_NORMALIZE =
+  S (S (S (S (S O))))
+
+(** val f_ALGO : field **)
+
+let f_ALGO =
+  S (S (S (S (S (S O)))))
+
+(** val f_SCHEME : field **)
+
+let f_SCHEME =
+  S (S (S (S (S (S (S O))))))
+
+(** val f_CRITERIA : field **)
+
+let f_CRITERIA =
+  S (S (S (S (S (S (S (S O)))))))
+
+(** val f_NTH : field **)
+
+let f_NTH =
+  S (S (S (S (S (S (S (S (S O))))))))
+
+(** val f_DELIM : field **)
+
+let f_DELIM =
+  S (S (S (S (S (S (S (S (S (S (S (S O)))))))))))
+
+(** val f_SORT : field **)
+
+let f_SORT =
+  S (S (S (S (S (S (S (S (S (S (S (S (S O))))))))))))
+
+(** val f_MULTI : field **)
+
+let f_MULTI =
+  S (S (S (S (S (S (S (S (S (S (S (S (S (S (S (S (S O))))))))))))))))
+
+(** val f_HEIGHT : field **)
+
+let f_HEIGHT =
+  S (S (S (S (S (S (S (S (S (S (S (S (S (S (S (S (S (S (S (S (S
+    O))))))))))))))))))))
+
+(** val f_QUERY : field **)
+
+let f_QUERY =
+  S (S (S (S (S (S (S (S (S (S (S (S (S (S (S (S (S (S (S (S (S (S (S (S (S
+    (S (S O))))))))))))))))))))))))))
+
+(** val f_FILTER : field **)
+
+let f_FILTER =
+  S (S (S (S (S (S (S (S (S (S (S (S (S (S (S (S (S (S (S (S (S (S (S (S (S
+    (S (S (S O)))))))))))))))))))))))))))
+
+(** val f_HISTORY : field **)
+
+let f_HISTORY =
+  S (S (S (S (S (S (S (S (S (S (S (S (S (S (S (S (S (S (S (S (S (S (S (S (S
+    (S (S (S (S (S O)))))))))))))))))))))))))))))
+
+(** val f_HISTMAX : field **)
+
+let f_HISTMAX =
+  S (S (S (S (S (S (S (S (S (S (S (S (S (S (S (S (S (S (S (S (S (S (S (S (S
+    (S (S (S (S (S (S O))))))))))))))))))))))))))))))
+
+(** val f_HEADER : field **)
+
+let f_HEADER =
+  S (S (S (S (S (S (S (S (S (S (S (S (S (S (S (S (S (S (S (S (S (S (S (S (S
+    (S (S (S (S (S (S (S O)))))))))))))))))))))))))))))))
+
+(** val f_HEADERLINES : field **)
+
+let f_HEADERLINES =
+  S (S (S (S (S (S (S (S (S (S (S (S (S (S (S (S (S (S (S (S (S (S (S (S (S
+    (S (S (S (S (S (S (S (S O))))))))))))))))))))))))))))))))
+
+(** val f_LISTEN : field **)
+
+let f_LISTEN =
+  S (S (S (S (S (S (S (S (S (S (S (S (S (S (S (S (S (S (S (S (S (S (S (S (S
+    (S (S (S (S (S (S (S (S (S O)))))))))))))))))))))))))))))))))
+
+(** val f_UNSAFE : field **)
+
+let f_UNSAFE =
+  S (S (S (S (S (S (S (S (S (S (S (S (S (S (S (S (S (S (S (S (S (S (S (S (S
+    (S (S (S (S (S (S (S (S (S (S O))))))))))))))))))))))))))))))))))
+
+(** val f_WALKER : field **)
+
+let f_WALKER =
+  S (S (S (S (S (S (S (S (S (S (S (S (S (S (S (S (S (S (S (S (S (S (S (S (S
+    (S (S (S (S (S (S (S (S (S (S (S O)))))))))))))))))))))))))))))))))))
+
+(** val f_WALKERROOT : field **)
+
+let f_WALKERROOT =
+  S (S (S (S (S (S (S (S (S (S (S (S (S (S (S (S (S (S (S (S (S (S (S (S (S
+    (S (S (S (S (S (S (S (S (S (S (S (S O))))))))))))))))))))))))))))))))))))
+
+(** val f_WALKERSKIP : field **)
+
+let f_WALKERSKIP =
+  S (S (S (S (S (S (S (S (S (S (S (S (S (S (S (S (S (S (S (S (S (S (S (S (S
+    (S (S (S (S (S (S (S (S (S (S (S (S (S
+    O)))))))))))))))))))))))))))))))))))))
+
+(** val f_PROMPT : field **)
+
+let f_PROMPT =
+  S (S (S (S (S (S (S (S (S (S (S (S (S (S (S (S (S (S (S (S (S (S (S (S (S
+    (S (S (S (S (S (S (S (S (S (S (S (S (S (S
+    O))))))))))))))))))))))))))))))))))))))
+
+(** val f_GHOST : field **)
+
+let f_GHOST =
+  S (S (S (S (S (S (S (S (S (S (S (S (S (S (S (S (S (S (S (S (S (S (S (S (S
+    (S (S (S (S (S (S (S (S (S (S (S (S (S (S (S
+    O)))))))))))))))))))))))))))))))))))))))
+
+(** val f_TABSTOP : field **)
+
+let f_TABSTOP =
+  S (S (S (S (S (S (S (S (S (S (S (S (S (S (S (S (S (S (S (S (S (S (S (S (S
+    (S (S (S (S (S (S (S (S (S (S (S (S (S (S (S (S
+    O))))))))))))))))))))))))))))))))))))))))
+
+(** val f_HSCROLLOFF : field **)
+
+let f_HSCROLLOFF =
+  S (S (S (S (S (S (S (S (S (S (S (S (S (S (S (S (S (S (S (S (S (S (S (S (S
+    (S (S (S (S (S (S (S (S (S (S (S (S (S (S (S (S (S
+    O)))))))))))))))))))))))))))))))))))))))))
+
+(** val f_SCROLLOFF : field **)
+
+let f_SCROLLOFF =
+  S (S (S (S (S (S (S (S (S (S (S (S (S (S (S (S (S (S (S (S (S (S (S (S (S
+    (S (S (S (S (S (S (S (S (S (S (S (S (S (S (S (S (S (S
+    O))))))))))))))))))))))))))))))))))))))))))
+
+(** val f_MOUSE : field **)
+
+let f_MOUSE =
+  S (S (S (S (S (S (S (S (S (S (S (S (S (S (S (S (S (S (S (S (S (S (S (S (S
+    (S (S (S (S (S (S (S (S (S (S (S (S (S (S (S (S (S (S (S (S (S
+    O)))))))))))))))))))))))))))))))))))))))))))))
+
+(** val f_BOLD : field **)
+
+let f_BOLD =
+  S (S (S (S (S (S (S (S (S (S (S (S (S (S (S (S (S (S (S (S (S (S (S (S (S
+    (S (S (S (S (S (S (S (S (S (S (S (S (S (S (S (S (S (S (S (S (S (S
+    O))))))))))))))))))))))))))))))))))))))))))))))
+
+(** val f_HSCROLL : field **)
+
+let f_HSCROLL =
+  S (S (S (S (S (S (S (S (S (S (S (S (S (S (S (S (S (S (S (S (S (S (S (S (S
+    (S (S (S (S (S (S (S (S (S (S (S (S (S (S (S (S (S (S (S (S (S (S (S (S
+    (S (S O))))))))))))))))))))))))))))))))))))))))))))))))))
+
+(** val f_MULTILINE : field **)
+
+let f_MULTILINE =
+  S (S (S (S (S (S (S (S (S (S (S (S (S (S (S (S (S (S (S (S (S (S (S (S (S
+    (S (S (S (S (S (S (S (S (S (S (S (S (S (S (S (S (S (S (S (S (S (S (S (S
+    (S (S (S (S O))))))))))))))))))))))))))))))))))))))))))))))))))))
+
+(** val f_CLEAR : field **)
+
+let f_CLEAR =
+  S (S (S (S (S (S (S (S (S (S (S (S (S (S (S (S (S (S (S (S (S (S (S (S (S
+    (S (S (S (S (S (S (S (S (S (S (S (S (S (S (S (S (S (S (S (S (S (S (S (S
+    (S (S (S (S (S (S (S
+    O)))))))))))))))))))))))))))))))))))))))))))))))))))))))
+
+(** val f_UNICODE : field **)
+
+let f_UNICODE =
+  S (S (S (S (S (S (S (S (S (S (S (S (S (S (S (S (S (S (S (S (S (S (S (S (S
+    (S (S (S (S (S (S (S (S (S (S (S (S (S (S (S (S (S (S (S (S (S (S (S (S
+    (S (S (S (S (S (S (S (S
+    O))))))))))))))))))))))))))))))))))))))))))))))))))))))))
+
+(** val f_INFOCMD : field **)
+
+let f_INFOCMD =
+  S (S (S (S (S (S (S (S (S (S (S (S (S (S (S (S (S (S (S (S (S (S (S (S (S
+    (S (S (S (S (S (S (S (S (S (S (S (S (S (S (S (S (S (S (S (S (S (S (S (S
+    (S (S (S (S (S (S (S (S (S (S
+    O))))))))))))))))))))))))))))))))))))))))))))))))))))))))))
+
+(** val f_WITHSHELL : field **)
+
+let f_WITHSHELL =
+  S (S (S (S (S (S (S (S (S (S (S (S (S (S (S (S (S (S (S (S (S (S (S (S (S
+    (S (S (S (S (S (S (S (S (S (S (S (S (S (S (S (S (S (S (S (S (S (S (S (S
+    (S (S (S (S (S (S (S (S (S (S (S
+    O)))))))))))))))))))))))))))))))))))))))))))))))))))))))))))
+
+(** val f_PREVIEW : field **)
+
+let f_PREVIEW =
+  S (S (S (S (S (S (S (S (S (S (S (S (S (S (S (S (S (S (S (S (S (S (S (S (S
+    (S (S (S (S (S (S (S (S (S (S (S (S (S (S (S (S (S (S (S (S (S (S (S (S
+    (S (S (S (S (S (S (S (S (S (S (S (S
+    O))))))))))))))))))))))))))))))))))))))))))))))))))))))))))))
+
+(** val f_HMAXLOCAL : field **)
+
+let f_HMAXLOCAL =
+  S (S (S (S (S (S (S (S (S (S (S (S (S (S (S (S (S (S (S (S (S (S (S (S (S
+    (S (S (S (S (S (S (S (S (S (S (S (S (S (S (S (S (S (S (S (S (S (S (S (S
+    (S (S (S (S (S (S (S (S (S (S (S (S (S (S
+    O))))))))))))))))))))))))))))))))))))))))))))))))))))))))))))))
+
+(** val nOBSERVABLE : nat **)
+
+let nOBSERVABLE =
+  S (S (S (S (S (S (S (S (S (S (S (S (S (S (S (S (S (S (S (S (S (S (S (S (S
+    (S (S (S (S (S (S (S (S (S (S (S (S (S (S (S (S (S (S (S (S (S (S (S (S
+    (S (S (S (S (S (S (S (S (S (S (S (S (S (S
+    O))))))))))))))))))))))))))))))))))))))))))))))))))))))))))))))
+
+(** val t : val0 **)
+
+let t =
+  VI (Zpos XH)
+
+(** val fv : val0 **)
+
+let fv =
+  VI Z0
+
+(** val vnone : val0 **)
+
+let vnone =
+  VL []
+
+(** val vsome : val0 -> val0 **)
+
+let vsome v =
+  VL (v :: [])
+
+(** val is_digit : z -> bool **)
+
+let is_digit c =
+  (&&) (Z.leb (Zpos (XO (XO (XO (XO (XI XH)))))) c)
+    (Z.leb c (Zpos (XI (XO (XO (XI (XI XH)))))))
+
+(** val digits_val : z -> str -> z option **)
+
+let rec digits_val acc = function
+| [] -> Some acc
+| c :: r ->
+  if is_digit c
+  then digits_val
+         (Z.add (Z.mul acc (Zpos (XO (XI (XO XH)))))
+           (Z.sub c (Zpos (XO (XO (XO (XO (XI XH)))))))) r
+  else None
+
+(** val atoi : str -> z option **)
+
+let atoi s = match s with
+| [] ->
+  let neg = false in
+  (match s with
+   | [] -> None
+   | _ :: _ ->
+     (match digits_val Z0 s with
+      | Some n ->
+        let v = if neg then Z.opp n else n in
+        if (&&)
+             (Z.leb (Zneg (XO (XO (XO (XO (XO (XO (XO (XO (XO (XO (XO (XO (XO
+               (XO (XO (XO (XO (XO (XO (XO (XO (XO (XO (XO (XO (XO (XO (XO
+               (XO (XO (XO (XO (XO (XO (XO (XO (XO (XO (XO (XO (XO (XO (XO
+               (XO (XO (XO (XO (XO (XO (XO (XO (XO (XO (XO (XO (XO (XO (XO
+               (XO (XO (XO (XO (XO
+               XH))))))))))))))))))))))))))))))))))))))))))))))))))))))))))))))))
+               v)
+             (Z.leb v (Zpos (XI (XI (XI (XI (XI (XI (XI (XI (XI (XI (XI (XI
+               (XI (XI (XI (XI (XI (XI (XI (XI (XI (XI (XI (XI (XI (XI (XI
+               (XI (XI (XI (XI (XI (XI (XI (XI (XI (XI (XI (XI (XI (XI (XI
+               (XI (XI (XI (XI (XI (XI (XI (XI (XI (XI (XI (XI (XI (XI (XI
+               (XI (XI (XI (XI (XI
+               XH))))))))))))))))))))))))))))))))))))))))))))))))))))))))))))))))
+        then Some v
+        else None
+      | None -> None))
+| c :: r ->
+  if Z.eqb c (Zpos (XI (XO (XI (XI (XO XH))))))
+  then let neg = true in
+       (match r with
+        | [] -> None
+        | _ :: _ ->
+          (match digits_val Z0 r with
+           | Some n ->
+             let v = if neg then Z.opp n else n in
+             if (&&)
+                  (Z.leb (Zneg (XO (XO (XO (XO (XO (XO (XO (XO (XO (XO (XO
+                    (XO (XO (XO (XO (XO (XO (XO (XO (XO (XO (XO (XO (XO (XO
+                    (XO (XO (XO (XO (XO (XO (XO (XO (XO (XO (XO (XO (XO (XO
+                    (XO (XO (XO (XO (XO (XO (XO (XO (XO (XO (XO (XO (XO (XO
+                    (XO (XO (XO (XO (XO (XO (XO (XO (XO (XO
+                    XH))))))))))))))))))))))))))))))))))))))))))))))))))))))))))))))))
+                    v)
+                  (Z.leb v (Zpos (XI (XI (XI (XI (XI (XI (XI (XI (XI (XI (XI
+                    (XI (XI (XI (XI (XI (XI (XI (XI (XI (XI (XI (XI (XI (XI
+                    (XI (XI (XI (XI (XI (XI (XI (XI (XI (XI (XI (XI (XI (XI
+                    (XI (XI (XI (XI (XI (XI (XI (XI (XI (XI (XI (XI (XI (XI
+                    (XI (XI (XI (XI (XI (XI (XI (XI (XI
+                    XH))))))))))))))))))))))))))))))))))))))))))))))))))))))))))))))))
+             then Some v
+             else None
+           | None -> None))
+  else if Z.eqb c (Zpos (XI (XI (XO (XI (XO XH))))))
+       then let neg = false in
+            (match r with
+             | [] -> None
+             | _ :: _ ->
+               (match digits_val Z0 r with
+                | Some n ->
+                  let v = if neg then Z.opp n else n in
+                  if (&&)
+                       (Z.leb (Zneg (XO (XO (XO (XO (XO (XO (XO (XO (XO (XO
+                         (XO (XO (XO (XO (XO (XO (XO (XO (XO (XO (XO (XO (XO
+                         (XO (XO (XO (XO (XO (XO (XO (XO (XO (XO (XO (XO (XO
+                         (XO (XO (XO (XO (XO (XO (XO (XO (XO (XO (XO (XO (XO
+                         (XO (XO (XO (XO (XO (XO (XO (XO (XO (XO (XO (XO (XO
+                         (XO
+                         XH))))))))))))))))))))))))))))))))))))))))))))))))))))))))))))))))
+                         v)
+                       (Z.leb v (Zpos (XI (XI (XI (XI (XI (XI (XI (XI (XI (XI
+                         (XI (XI (XI (XI (XI (XI (XI (XI (XI (XI (XI (XI (XI
+                         (XI (XI (XI (XI (XI (XI (XI (XI (XI (XI (XI (XI (XI
+                         (XI (XI (XI (XI (XI (XI (XI (XI (XI (XI (XI (XI (XI
+                         (XI (XI (XI (XI (XI (XI (XI (XI (XI (XI (XI (XI (XI
+                         XH))))))))))))))))))))))))))))))))))))))))))))))))))))))))))))))))
+                  then Some v
+                  else None
+                | None -> None))
+       else let neg = false in
+            (match s with
+             | [] -> None
+             | _ :: _ ->
+               (match digits_val Z0 s with
+                | Some n ->
+                  let v = if neg then Z.opp n else n in
+                  if (&&)
+                       (Z.leb (Zneg (XO (XO (XO (XO (XO (XO (XO (XO (XO (XO
+                         (XO (XO (XO (XO (XO (XO (XO (XO (XO (XO (XO (XO (XO
+                         (XO (XO (XO (XO (XO (XO (XO (XO (XO (XO (XO (XO (XO
+                         (XO (XO (XO (XO (XO (XO (XO (XO (XO (XO (XO (XO (XO
+                         (XO (XO (XO (XO (XO (XO (XO (XO (XO (XO (XO (XO (XO
+                         (XO
+                         XH))))))))))))))))))))))))))))))))))))))))))))))))))))))))))))))))
+                         v)
+                       (Z.leb v (Zpos (XI (XI (XI (XI (XI (XI (XI (XI (XI (XI
+                         (XI (XI (XI (XI (XI (XI (XI (XI (XI (XI (XI (XI (XI
+                         (XI (XI (XI (XI (XI (XI (XI (XI (XI (XI (XI (XI (XI
+                         (XI (XI (XI (XI (XI (XI (XI (XI (XI (XI (XI (XI (XI
+                         (XI (XI (XI (XI (XI (XI (XI (XI (XI (XI (XI (XI (XI
+                         XH))))))))))))))))))))))))))))))))))))))))))))))))))))))))))))))))
+                  then Some v
+                  else None
+                | None -> None))
+
+(** val sequence : 'a1 option list -> 'a1 list option **)
+
+let rec sequence = function
+| [] -> Some []
+| o :: r ->
+  (match o with
+   | Some x ->
+     (match sequence r with
+      | Some r' -> Some (x :: r')
+      | None -> None)
+   | None -> None)
+
+(** val s_default : str **)
+
+let s_default =
+  (Zpos (XO (XO (XI (XO (XO (XI XH))))))) :: ((Zpos (XI (XO (XI (XO (XO (XI
+    XH))))))) :: ((Zpos (XO (XI (XI (XO (XO (XI XH))))))) :: ((Zpos (XI (XO
+    (XO (XO (XO (XI XH))))))) :: ((Zpos (XI (XO (XI (XO (XI (XI
+    XH))))))) :: ((Zpos (XO (XO (XI (XI (XO (XI XH))))))) :: ((Zpos (XO (XO
+    (XI (XO (XI (XI XH))))))) :: []))))))
+
+(** val s_path : str **)
+
+let s_path =
+  (Zpos (XO (XO (XO (XO (XI (XI XH))))))) :: ((Zpos (XI (XO (XO (XO (XO (XI
+    XH))))))) :: ((Zpos (XO (XO (XI (XO (XI (XI XH))))))) :: ((Zpos (XO (XO
+    (XO (XI (XO (XI XH))))))) :: [])))
+
+(** val s_history : str **)
+
+let s_history =
+  (Zpos (XO (XO (XO (XI (XO (XI XH))))))) :: ((Zpos (XI (XO (XO (XI (XO (XI
+    XH))))))) :: ((Zpos (XI (XI (XO (XO (XI (XI XH))))))) :: ((Zpos (XO (XO
+    (XI (XO (XI (XI XH))))))) :: ((Zpos (XI (XI (XI (XI (XO (XI
+    XH))))))) :: ((Zpos (XO (XI (XO (XO (XI (XI XH))))))) :: ((Zpos (XI (XO
+    (XO (XI (XI (XI XH))))))) :: []))))))
+
+(** val s_v1 : str **)
+
+let s_v1 =
+  (Zpos (XO (XI (XI (XO (XI (XI XH))))))) :: ((Zpos (XI (XO (XO (XO (XI
+    XH)))))) :: [])
+
+(** val s_v2 : str **)
+
+let s_v2 =
+  (Zpos (XO (XI (XI (XO (XI (XI XH))))))) :: ((Zpos (XO (XI (XO (XO (XI
+    XH)))))) :: [])
+
+(** val s_reverse : str **)
+
+let s_reverse =
+  (Zpos (XO (XI (XO (XO (XI (XI XH))))))) :: ((Zpos (XI (XO (XI (XO (XO (XI
+    XH))))))) :: ((Zpos (XO (XI (XI (XO (XI (XI XH))))))) :: ((Zpos (XI (XO
+    (XI (XO (XO (XI XH))))))) :: ((Zpos (XO (XI (XO (XO (XI (XI
+    XH))))))) :: ((Zpos (XI (XI (XO (XO (XI (XI XH))))))) :: ((Zpos (XI (XO
+    (XI (XO (XO (XI XH))))))) :: []))))))
+
+(** val s_reverse_list : str **)
+
+let s_reverse_list =
+  (Zpos (XO (XI (XO (XO (XI (XI XH))))))) :: ((Zpos (XI (XO (XI (XO (XO (XI
+    XH))))))) :: ((Zpos (XO (XI (XI (XO (XI (XI XH))))))) :: ((Zpos (XI (XO
+    (XI (XO (XO (XI XH))))))) :: ((Zpos (XO (XI (XO (XO (XI (XI
+    XH))))))) :: ((Zpos (XI (XI (XO (XO (XI (XI XH))))))) :: ((Zpos (XI (XO
+    (XI (XO (XO (XI XH))))))) :: ((Zpos (XI (XO (XI (XI (XO
+    XH)))))) :: ((Zpos (XO (XO (XI (XI (XO (XI XH))))))) :: ((Zpos (XI (XO
+    (XO (XI (XO (XI XH))))))) :: ((Zpos (XI (XI (XO (XO (XI (XI
+    XH))))))) :: ((Zpos (XO (XO (XI (XO (XI (XI XH))))))) :: [])))))))))))
+
+(** val s_localhost : str **)
+
+let s_localhost =
+  (Zpos (XO (XO (XI (XI (XO (XI XH))))))) :: ((Zpos (XI (XI (XI (XI (XO (XI
+    XH))))))) :: ((Zpos (XI (XI (XO (XO (XO (XI XH))))))) :: ((Zpos (XI (XO
+    (XO (XO (XO (XI XH))))))) :: ((Zpos (XO (XO (XI (XI (XO (XI
+    XH))))))) :: ((Zpos (XO (XO (XO (XI (XO (XI XH))))))) :: ((Zpos (XI (XI
+    (XI (XI (XO (XI XH))))))) :: ((Zpos (XI (XI (XO (XO (XI (XI
+    XH))))))) :: ((Zpos (XO (XO (XI (XO (XI (XI XH))))))) :: []))))))))
+
+(** val s_file : str **)
+
+let s_file =
+  (Zpos (XO (XI (XI (XO (XO (XI XH))))))) :: ((Zpos (XI (XO (XO (XI (XO (XI
+    XH))))))) :: ((Zpos (XO (XO (XI (XI (XO (XI XH))))))) :: ((Zpos (XI (XO
+    (XI (XO (XO (XI XH))))))) :: [])))
+
+(** val s_dir : str **)
+
+let s_dir =
+  (Zpos (XO (XO (XI (XO (XO (XI XH))))))) :: ((Zpos (XI (XO (XO (XI (XO (XI
+    XH))))))) :: ((Zpos (XO (XI (XO (XO (XI (XI XH))))))) :: []))
+
+(** val s_hidden : str **)
+
+let s_hidden =
+  (Zpos (XO (XO (XO (XI (XO (XI XH))))))) :: ((Zpos (XI (XO (XO (XI (XO (XI
+    XH))))))) :: ((Zpos (XO (XO (XI (XO (XO (XI XH))))))) :: ((Zpos (XO (XO
+    (XI (XO (XO (XI XH))))))) :: ((Zpos (XI (XO (XI (XO (XO (XI
+    XH))))))) :: ((Zpos (XO (XI (XI (XI (XO (XI XH))))))) :: [])))))
+
+(** val s_follow : str **)
+
+let s_follow =
+  (Zpos (XO (XI (XI (XO (XO (XI XH))))))) :: ((Zpos (XI (XI (XI (XI (XO (XI
+    XH))))))) :: ((Zpos (XO (XO (XI (XI (XO (XI XH))))))) :: ((Zpos (XO (XO
+    (XI (XI (XO (XI XH))))))) :: ((Zpos (XI (XI (XI (XI (XO (XI
+    XH))))))) :: ((Zpos (XI (XI (XI (XO (XI (XI XH))))))) :: [])))))
+
+(** val crit_names : (str * z) list **)
+
+let crit_names =
+  (((Zpos (XI (XO (XO (XI (XO (XI XH))))))) :: ((Zpos (XO (XI (XI (XI (XO (XI
+    XH))))))) :: ((Zpos (XO (XO (XI (XO (XO (XI XH))))))) :: ((Zpos (XI (XO
+    (XI (XO (XO (XI XH))))))) :: ((Zpos (XO (XO (XO (XI (XI (XI
+    XH))))))) :: []))))), (Zneg XH)) :: ((((Zpos (XI (XI (XO (XO (XO (XI
+    XH))))))) :: ((Zpos (XO (XO (XO (XI (XO (XI XH))))))) :: ((Zpos (XI (XO
+    (XI (XO (XI (XI XH))))))) :: ((Zpos (XO (XI (XI (XI (XO (XI
+    XH))))))) :: ((Zpos (XI (XI (XO (XI (XO (XI XH))))))) :: []))))), (Zpos
+    XH)) :: ((((Zpos (XO (XO (XI (XI (XO (XI XH))))))) :: ((Zpos (XI (XO (XI
+    (XO (XO (XI XH))))))) :: ((Zpos (XO (XI (XI (XI (XO (XI
+    XH))))))) :: ((Zpos (XI (XI (XI (XO (XO (XI XH))))))) :: ((Zpos (XO (XO
+    (XI (XO (XI (XI XH))))))) :: ((Zpos (XO (XO (XO (XI (XO (XI
+    XH))))))) :: [])))))), (Zpos (XO XH))) :: ((((Zpos (XO (XI (XO (XO (XO
+    (XI XH))))))) :: ((Zpos (XI (XO (XI (XO (XO (XI XH))))))) :: ((Zpos (XI
+    (XI (XI (XO (XO (XI XH))))))) :: ((Zpos (XI (XO (XO (XI (XO (XI
+    XH))))))) :: ((Zpos (XO (XI (XI (XI (XO (XI XH))))))) :: []))))), (Zpos
+    (XI XH))) :: ((((Zpos (XI (XO (XI (XO (XO (XI XH))))))) :: ((Zpos (XO (XI
+    (XI (XI (XO (XI XH))))))) :: ((Zpos (XO (XO (XI (XO (XO (XI
+    XH))))))) :: []))), (Zpos (XO (XO XH)))) :: ((((Zpos (XO (XO (XO (XO (XI
+    (XI XH))))))) :: ((Zpos (XI (XO (XO (XO (XO (XI XH))))))) :: ((Zpos (XO
+    (XO (XI (XO (XI (XI XH))))))) :: ((Zpos (XO (XO (XO (XI (XO (XI
+    XH))))))) :: ((Zpos (XO (XI (XI (XI (XO (XI XH))))))) :: ((Zpos (XI (XO
+    (XO (XO (XO (XI XH))))))) :: ((Zpos (XI (XO (XI (XI (XO (XI
+    XH))))))) :: ((Zpos (XI (XO (XI (XO (XO (XI XH))))))) :: [])))))))),
+    (Zpos (XI (XO XH)))) :: [])))))
+
+(** val scheme_criteria : str -> z list option **)
+
+let scheme_criteria s =
+  if str_eqb s s_history
+  then Some (Z0 :: [])
+  else if str_eqb s s_path
+       then Some (Z0 :: ((Zpos (XI (XO XH))) :: ((Zpos (XO XH)) :: [])))
+       else if str_eqb s s_default
+            then Some (Z0 :: ((Zpos (XO XH)) :: []))
+            else None
+
+(** val vints : z list -> val0 **)
+
+let vints l =
+  VL (map (fun x -> VI x) l)
+
+(** val e_UNKNOWN_OPTION : z **)
+
+let e_UNKNOWN_OPTION =
+  Zpos (XO (XI (XO XH)))
+
+(** val e_VALUE_REQUIRED : z **)
+
+let e_VALUE_REQUIRED =
+  Zpos (XI (XI (XO XH)))
+
+(** val e_BAD_VALUE : z **)
+
+let e_BAD_VALUE =
+  Zpos (XO (XO (XI XH)))
+
+(** val e_UNEXPECTED_VALUE : z **)
+
+let e_UNEXPECTED_VALUE =
+  Zpos (XI (XO (XI XH)))
+
+(** val e_VALIDATION : z **)
+
+let e_VALIDATION =
+  Zpos (XO (XI (XI XH)))
+
+(** val e_HISTORY : z **)
+
+let e_HISTORY =
+  Zpos (XI (XI (XI XH)))
+
+type cfg = { fv0 : (field -> val0); kmap : keymap; expect : key list }
+
+(** val setf : field -> val0 -> cfg -> cfg **)
+
+let setf f v c =
+  { fv0 = (fun g -> if Nat.eqb g f then v else c.fv0 g); kmap = c.kmap;
+    expect = c.expect }
+
+(** val setfs : (field * val0) list -> cfg -> cfg **)
+
+let rec setfs ws c =
+  match ws with
+  | [] -> c
+  | p :: r -> let (f, v) = p in setfs r (setf f v c)
+
+type env = { isdir : (str -> bool); histok : (str -> bool); tty : bool }
+
+type pid =
+| PStr
+| PSomeStr
+| PInt
+| PPosInt
+| PAlgo
+| PScheme
+| PTiebreak
+| PNth
+| PNthT
+| PDelim
+| PLayout
+| PHeight
+| PLines
+| PWalker
+| PSkip
+
+(** val mem_z : z -> z list -> bool **)
+
+let rec mem_z x = function
+| [] -> false
+| y :: r -> (||) (Z.eqb x y) (mem_z x r)
+
+(** val tb_loop : str list -> z list -> z list -> bool -> z list option **)
+
+let rec tb_loop toks crit seen has_index =
+  match toks with
+  | [] -> Some crit
+  | t0 :: r ->
+    (match assoc_str t0 crit_names with
+     | Some id ->
+       if mem_z id seen
+       then None
+       else if has_index
+            then None
+            else if Z.eqb id (Zneg XH)
+                 then tb_loop r crit (id :: seen) true
+                 else tb_loop r (app crit (id :: [])) (id :: seen) false
+     | None -> None)
+
+(** val parse_tiebreak : str -> z list option **)
+
+let parse_tiebreak s =
+  match tb_loop (split_on cOMMA (to_lower s)) (Z0 :: []) [] false with
+  | Some crit ->
+    if Nat.ltb (S (S (S (S O)))) (length crit) then None else Some crit
+  | None -> None
+
+(** val dOT : z **)
+
+let dOT =
+  Zpos (XO (XI (XI (XI (XO XH)))))
+
+(** val find_dotdot : str -> str -> (str * str) option **)
+
+let rec find_dotdot cur = function
+| [] -> None
+| c1 :: t1 ->
+  (match t1 with
+   | [] -> None
+   | c2 :: t0 ->
+     if (&&) (Z.eqb c1 dOT) (Z.eqb c2 dOT)
+     then Some ((rev cur), t0)
+     else find_dotdot (c1 :: cur) t1)
+
+(** val nonzero : z option -> z option **)
+
+let nonzero o = match o with
+| Some z0 -> (match z0 with
+              | Z0 -> None
+              | _ -> o)
+| None -> o
+
+(** val new_range : z -> z -> z * z **)
+
+let new_range bg e =
+  ((if (&&) (Z.eqb bg (Zpos XH)) (negb (Z.eqb e (Zpos XH))) then Z0 else bg),
+    (if Z.eqb e (Zneg XH) then Z0 else e))
+
+(** val parse_range : str -> (z * z) option **)
+
+let parse_range s =
+  if str_eqb s (dOT :: (dOT :: []))
+  then Some (new_range Z0 Z0)
+  else if has_prefix (dOT :: (dOT :: [])) s
+       then (match nonzero (atoi (skipn (S (S O)) s)) with
+             | Some e -> Some (new_range Z0 e)
+             | None -> None)
+       else if has_suffix (dOT :: (dOT :: [])) s
+            then (match nonzero (atoi (firstn (sub (length s) (S (S O))) s)) with
+                  | Some bg -> Some (new_range bg Z0)
+                  | None -> None)
+            else (match find_dotdot [] s with
+                  | Some p ->
+                    let (a, r) = p in
+                    (match find_dotdot [] r with
+                     | Some _ -> None
+                     | None ->
+                       (match nonzero (atoi a) with
+                        | Some bg ->
+                          (match nonzero (atoi r) with
+                           | Some e ->
+                             if (&&) (Z.ltb bg Z0) (Z.ltb Z0 e)
+                             then None
+                             else Some (new_range bg e)
+                           | None -> None)
+                        | None -> None))
+                  | None ->
+                    (match nonzero (atoi s) with
+                     | Some n -> Some (new_range n n)
+                     | None -> None))
+
+(** val nth_char : z -> bool **)
+
+let nth_char c =
+  (||) (is_digit c)
+    ((&&) (Z.leb (Zpos (XO (XO (XI (XI (XO XH)))))) c)
+      (Z.leb c (Zpos (XO (XI (XI (XI (XO XH))))))))
+
+(** val nth_expr : str -> bool **)
+
+let nth_expr s =
+  (&&) (nonemptyb s) (forallb nth_char s)
+
+(** val split_nth : str -> (z * z) list option **)
+
+let split_nth s =
+  if nth_expr s then sequence (map parse_range (split_on cOMMA s)) else None
+
+(** val placeholder_here : str -> bool **)
+
+let placeholder_here t0 = match t0 with
+| [] ->
+  let w = take_while nth_char t0 in
+  (&&) (nonemptyb w)
+    (match skipn (length w) t0 with
+     | [] -> false
+     | z0 :: _ ->
+       (match z0 with
+        | Zpos p ->
+          (match p with
+           | XI p0 ->
+             (match p0 with
+              | XO p1 ->
+                (match p1 with
+                 | XI p3 ->
+                   (match p3 with
+                    | XI p5 ->
+                      (match p5 with
+                       | XI p6 ->
+                         (match p6 with
+                          | XI p7 -> (match p7 with
+                                      | XH -> true
+                                      | _ -> false)
+                          | _ -> false)
+                       | _ -> false)
+                    | _ -> false)
+                 | _ -> false)
+              | _ -> false)
+           | _ -> false)
+        | _ -> false))
+| z0 :: l ->
+  (match z0 with
+   | Zpos p ->
+     (match p with
+      | XO p0 ->
+        (match p0 with
+         | XI p1 ->
+           (match p1 with
+            | XI p3 ->
+              (match p3 with
+               | XI p5 ->
+                 (match p5 with
+                  | XO p6 ->
+                    (match p6 with
+                     | XI p7 ->
+                       (match p7 with
+                        | XH ->
+                          (match l with
+                           | [] ->
+                             let w = take_while nth_char t0 in
+                             (&&) (nonemptyb w)
+                               (match skipn (length w) t0 with
+                                | [] -> false
+                                | z1 :: _ ->
+                                  (match z1 with
+                                   | Zpos p8 ->
+                                     (match p8 with
+                                      | XI p9 ->
+                                        (match p9 with
+                                         | XO p10 ->
+                                           (match p10 with
+                                            | XI p11 ->
+                                              (match p11 with
+                                               | XI p12 ->
+                                                 (match p12 with
+                                                  | XI p13 ->
+                                                    (match p13 with
+                                                     | XI p14 ->
+                                                       (match p14 with
+                                                        | XH -> true
+                                                        | _ -> false)
+                                                     | _ -> false)
+                                                  | _ -> false)
+                                               | _ -> false)
+                                            | _ -> false)
+                                         | _ -> false)
+                                      | _ -> false)
+                                   | _ -> false))
+                           | z1 :: _ ->
+                             (match z1 with
+                              | Zpos p8 ->
+                                (match p8 with
+                                 | XI p9 ->
+                                   (match p9 with
+                                    | XO p10 ->
+                                      (match p10 with
+                                       | XI p11 ->
+                                         (match p11 with
+                                          | XI p12 ->
+                                            (match p12 with
+                                             | XI p13 ->
+                                               (match p13 with
+                                                | XI p14 ->
+                                                  (match p14 with
+                                                   | XH -> true
+                                                   | _ ->
+                                                     let w =
+                                                       take_while nth_char t0
+                                                     in
+                                                     (&&) (nonemptyb w)
+                                                       (match skipn
+                                                                (length w) t0 with
+                                                        | [] -> false
+                                                        | z2 :: _ ->
+                                                          (match z2 with
+                                                           | Zpos p15 ->
+                                                             (match p15 with
+                                                              | XI p16 ->
+                                                                (match p16 with
+                                                                 | XO p17 ->
+                                                                   (match p17 with
+                                                                    | XI p18 ->
+                                                                    (match p18 with
+                                                                    | XI p19 ->
+                                                                    (match p19 with
+                                                                    | XI p20 ->
+                                                                    (match p20 with
+                                                                    | XI p21 ->
+                                                                    (match p21 with
+                                                                    | XH ->
+                                                                    true
+                                                                    | _ ->
+                                                                    false)
+                                                                    | _ ->
+                                                                    false)
+                                                                    | _ ->
+                                                                    false)
+                                                                    | _ ->
+                                                                    false)
+                                                                    | _ ->
+                                                                    false)
+                                                                 | _ -> false)
+                                                              | _ -> false)
+                                                           | _ -> false)))
+                                                | _ ->
+                                                  let w =
+                                                    take_while nth_char t0
+                                                  in
+                                                  (&&) (nonemptyb w)
+                                                    (match skipn (length w) t0 with
+                                                     | [] -> false
+                                                     | z2 :: _ ->
+                                                       (match z2 with
+                                                        | Zpos p14 ->
+                                                          (match p14 with
+                                                           | XI p15 ->
+                                                             (match p15 with
+                                                              | XO p16 ->
+                                                                (match p16 with
+                                                                 | XI p17 ->
+                                                                   (match p17 with
+                                                                    | XI p18 ->
+                                                                    (match p18 with
+                                                                    | XI p19 ->
+                                                                    (match p19 with
+                                                                    | XI p20 ->
+                                                                    (match p20 with
+                                                                    | XH ->
+                                                                    true
+                                                                    | _ ->
+                                                                    false)
+                                                                    | _ ->
+                                                                    false)
+                                                                    | _ ->
+                                                                    false)
+                                                                    | _ ->
+                                                                    false)
+                                                                 | _ -> false)
+                                                              | _ -> false)
+                                                           | _ -> false)
+                                                        | _ -> false)))
+                                             | _ ->
+                                               let w = take_while nth_char t0
+                                               in
+                                               (&&) (nonemptyb w)
+                                                 (match skipn (length w) t0 with
+                                                  | [] -> false
+                                                  | z2 :: _ ->
+                                                    (match z2 with
+                                                     | Zpos p13 ->
+                                                       (match p13 with
+                                                        | XI p14 ->
+                                                          (match p14 with
+                                                           | XO p15 ->
+                                                             (match p15 with
+                                                              | XI p16 ->
+                                                                (match p16 with
+                                                                 | XI p17 ->
+                                                                   (match p17 with
+                                                                    | XI p18 ->
+                                                                    (match p18 with
+                                                                    | XI p19 ->
+                                                                    (match p19 with
+                                                                    | XH ->
+                                                                    true
+                                                                    | _ ->
+                                                                    false)
+                                                                    | _ ->
+                                                                    false)
+                                                                    | _ ->
+                                                                    false)
+                                                                 | _ -> false)
+                                                              | _ -> false)
+                                                           | _ -> false)
+                                                        | _ -> false)
+                                                     | _ -> false)))
+                                          | _ ->
+                                            let w = take_while nth_char t0 in
+                                            (&&) (nonemptyb w)
+                                              (match skipn (length w) t0 with
+                                               | [] -> false
+                                               | z2 :: _ ->
+                                                 (match z2 with
+                                                  | Zpos p12 ->
+                                                    (match p12 with
+                                                     | XI p13 ->
+                                                       (match p13 with
+                                                        | XO p14 ->
+                                                          (match p14 with
+                                                           | XI p15 ->
+                                                             (match p15 with
+                                                              | XI p16 ->
+                                                                (match p16 with
+                                                                 | XI p17 ->
+                                                                   (match p17 with
+                                                                    | XI p18 ->
+                                                                    (match p18 with
+                                                                    | XH ->
+                                                                    true
+                                                                    | _ ->
+                                                                    false)
+                                                                    | _ ->
+                                                                    false)
+                                                                 | _ -> false)
+                                                              | _ -> false)
+                                                           | _ -> false)
+                                                        | _ -> false)
+                                                     | _ -> false)
+                                                  | _ -> false)))
+                                       | _ ->
+                                         let w = take_while nth_char t0 in
+                                         (&&) (nonemptyb w)
+                                           (match skipn (length w) t0 with
+                                            | [] -> false
+                                            | z2 :: _ ->
+                                              (match z2 with
+                                               | Zpos p11 ->
+                                                 (match p11 with
+                                                  | XI p12 ->
+                                                    (match p12 with
+                                                     | XO p13 ->
+                                                       (match p13 with
+                                                        | XI p14 ->
+                                                          (match p14 with
+                                                           | XI p15 ->
+                                                             (match p15 with
+                                                              | XI p16 ->
+                                                                (match p16 with
+                                                                 | XI p17 ->
+                                                                   (match p17 with
+                                                                    | XH ->
+                                                                    true
+                                                                    | _ ->
+                                                                    false)
+                                                                 | _ -> false)
+                                                              | _ -> false)
+                                                           | _ -> false)
+                                                        | _ -> false)
+                                                     | _ -> false)
+                                                  | _ -> false)
+                                               | _ -> false)))
+                                    | _ ->
+                                      let w = take_while nth_char t0 in
+                                      (&&) (nonemptyb w)
+                                        (match skipn (length w) t0 with
+                                         | [] -> false
+                                         | z2 :: _ ->
+                                           (match z2 with
+                                            | Zpos p10 ->
+                                              (match p10 with
+                                               | XI p11 ->
+                                                 (match p11 with
+                                                  | XO p12 ->
+                                                    (match p12 with
+                                                     | XI p13 ->
+                                                       (match p13 with
+                                                        | XI p14 ->
+                                                          (match p14 with
+                                                           | XI p15 ->
+                                                             (match p15 with
+                                                              | XI p16 ->
+                                                                (match p16 with
+                                                                 | XH -> true
+                                                                 | _ -> false)
+                                                              | _ -> false)
+                                                           | _ -> false)
+                                                        | _ -> false)
+                                                     | _ -> false)
+                                                  | _ -> false)
+                                               | _ -> false)
+                                            | _ -> false)))
+                                 | _ ->
+                                   let w = take_while nth_char t0 in
+                                   (&&) (nonemptyb w)
+                                     (match skipn (length w) t0 with
+                                      | [] -> false
+                                      | z2 :: _ ->
+                                        (match z2 with
+                                         | Zpos p9 ->
+                                           (match p9 with
+                                            | XI p10 ->
+                                              (match p10 with
+                                               | XO p11 ->
+                                                 (match p11 with
+                                                  | XI p12 ->
+                                                    (match p12 with
+                                                     | XI p13 ->
+                                                       (match p13 with
+                                                        | XI p14 ->
+                                                          (match p14 with
+                                                           | XI p15 ->
+                                                             (match p15 with
+                                                              | XH -> true
+                                                              | _ -> false)
+                                                           | _ -> false)
+                                                        | _ -> false)
+                                                     | _ -> false)
+                                                  | _ -> false)
+                                               | _ -> false)
+                                            | _ -> false)
+                                         | _ -> false)))
+                              | _ ->
+                                let w = take_while nth_char t0 in
+                                (&&) (nonemptyb w)
+                                  (match skipn (length w) t0 with
+                                   | [] -> false
+                                   | z2 :: _ ->
+                                     (match z2 with
+                                      | Zpos p8 ->
+                                        (match p8 with
+                                         | XI p9 ->
+                                           (match p9 with
+                                            | XO p10 ->
+                                              (match p10 with
+                                               | XI p11 ->
+                                                 (match p11 with
+                                                  | XI p12 ->
+                                                    (match p12 with
+                                                     | XI p13 ->
+                                                       (match p13 with
+                                                        | XI p14 ->
+                                                          (match p14 with
+                                                           | XH -> true
+                                                           | _ -> false)
+                                                        | _ -> false)
+                                                     | _ -> false)
+                                                  | _ -> false)
+                                               | _ -> false)
+                                            | _ -> false)
+                                         | _ -> false)
+                                      | _ -> false))))
+                        | _ ->
+                          let w = take_while nth_char t0 in
+                          (&&) (nonemptyb w)
+                            (match skipn (length w) t0 with
+                             | [] -> false
+                             | z1 :: _ ->
+                               (match z1 with
+                                | Zpos p8 ->
+                                  (match p8 with
+                                   | XI p9 ->
+                                     (match p9 with
+                                      | XO p10 ->
+                                        (match p10 with
+                                         | XI p11 ->
+                                           (match p11 with
+                                            | XI p12 ->
+                                              (match p12 with
+                                               | XI p13 ->
+                                                 (match p13 with
+                                                  | XI p14 ->
+                                                    (match p14 with
+                                                     | XH -> true
+                                                     | _ -> false)
+                                                  | _ -> false)
+                                               | _ -> false)
+                                            | _ -> false)
+                                         | _ -> false)
+                                      | _ -> false)
+                                   | _ -> false)
+                                | _ -> false)))
+                     | _ ->
+                       let w = take_while nth_char t0 in
+                       (&&) (nonemptyb w)
+                         (match skipn (length w) t0 with
+                          | [] -> false
+                          | z1 :: _ ->
+                            (match z1 with
+                             | Zpos p7 ->
+                               (match p7 with
+                                | XI p8 ->
+                                  (match p8 with
+                                   | XO p9 ->
+                                     (match p9 with
+                                      | XI p10 ->
+                                        (match p10 with
+                                         | XI p11 ->
+                                           (match p11 with
+                                            | XI p12 ->
+                                              (match p12 with
+                                               | XI p13 ->
+                                                 (match p13 with
+                                                  | XH -> true
+                                                  | _ -> false)
+                                               | _ -> false)
+                                            | _ -> false)
+                                         | _ -> false)
+                                      | _ -> false)
+                                   | _ -> false)
+                                | _ -> false)
+                             | _ -> false)))
+                  | _ ->
+                    let w = take_while nth_char t0 in
+                    (&&) (nonemptyb w)
+                      (match skipn (length w) t0 with
+                       | [] -> false
+                       | z1 :: _ ->
+                         (match z1 with
+                          | Zpos p6 ->
+                            (match p6 with
+                             | XI p7 ->
+                               (match p7 with
+                                | XO p8 ->
+                                  (match p8 with
+                                   | XI p9 ->
+                                     (match p9 with
+                                      | XI p10 ->
+                                        (match p10 with
+                                         | XI p11 ->
+                                           (match p11 with
+                                            | XI p12 ->
+                                              (match p12 with
+                                               | XH -> true
+                                               | _ -> false)
+                                            | _ -> false)
+                                         | _ -> false)
+                                      | _ -> false)
+                                   | _ -> false)
+                                | _ -> false)
+                             | _ -> false)
+                          | _ -> false)))
+               | _ ->
+                 let w = take_while nth_char t0 in
+                 (&&) (nonemptyb w)
+                   (match skipn (length w) t0 with
+                    | [] -> false
+                    | z1 :: _ ->
+                      (match z1 with
+                       | Zpos p5 ->
+                         (match p5 with
+                          | XI p6 ->
+                            (match p6 with
+                             | XO p7 ->
+                               (match p7 with
+                                | XI p8 ->
+                                  (match p8 with
+                                   | XI p9 ->
+                                     (match p9 with
+                                      | XI p10 ->
+                                        (match p10 with
+                                         | XI p11 ->
+                                           (match p11 with
+                                            | XH -> true
+                                            | _ -> false)
+                                         | _ -> false)
+                                      | _ -> false)
+                                   | _ -> false)
+                                | _ -> false)
+                             | _ -> false)
+                          | _ -> false)
+                       | _ -> false)))
+            | _ ->
+              let w = take_while nth_char t0 in
+              (&&) (nonemptyb w)
+                (match skipn (length w) t0 with
+                 | [] -> false
+                 | z1 :: _ ->
+                   (match z1 with
+                    | Zpos p3 ->
+                      (match p3 with
+                       | XI p5 ->
+                         (match p5 with
+                          | XO p6 ->
+                            (match p6 with
+                             | XI p7 ->
+                               (match p7 with
+                                | XI p8 ->
+                                  (match p8 with
+                                   | XI p9 ->
+                                     (match p9 with
+                                      | XI p10 ->
+                                        (match p10 with
+                                         | XH -> true
+                                         | _ -> false)
+                                      | _ -> false)
+                                   | _ -> false)
+                                | _ -> false)
+                             | _ -> false)
+                          | _ -> false)
+                       | _ -> false)
+                    | _ -> false)))
+         | _ ->
+           let w = take_while nth_char t0 in
+           (&&) (nonemptyb w)
+             (match skipn (length w) t0 with
+              | [] -> false
+              | z1 :: _ ->
+                (match z1 with
+                 | Zpos p1 ->
+                   (match p1 with
+                    | XI p3 ->
+                      (match p3 with
+                       | XO p5 ->
+                         (match p5 with
+                          | XI p6 ->
+                            (match p6 with
+                             | XI p7 ->
+                               (match p7 with
+                                | XI p8 ->
+                                  (match p8 with
+                                   | XI p9 ->
+                                     (match p9 with
+                                      | XH -> true
+                                      | _ -> false)
+                                   | _ -> false)
+                                | _ -> false)
+                             | _ -> false)
+                          | _ -> false)
+                       | _ -> false)
+                    | _ -> false)
+                 | _ -> false)))
+      | _ ->
+        let w = take_while nth_char t0 in
+        (&&) (nonemptyb w)
+          (match skipn (length w) t0 with
+           | [] -> false
+           | z1 :: _ ->
+             (match z1 with
+              | Zpos p0 ->
+                (match p0 with
+                 | XI p1 ->
+                   (match p1 with
+                    | XO p3 ->
+                      (match p3 with
+                       | XI p5 ->
+                         (match p5 with
+                          | XI p6 ->
+                            (match p6 with
+                             | XI p7 ->
+                               (match p7 with
+                                | XI p8 ->
+                                  (match p8 with
+                                   | XH -> true
+                                   | _ -> false)
+                                | _ -> false)
+                             | _ -> false)
+                          | _ -> false)
+                       | _ -> false)
+                    | _ -> false)
+                 | _ -> false)
+              | _ -> false)))
+   | _ ->
+     let w = take_while nth_char t0 in
+     (&&) (nonemptyb w)
+       (match skipn (length w) t0 with
+        | [] -> false
+        | z1 :: _ ->
+          (match z1 with
+           | Zpos p ->
+             (match p with
+              | XI p0 ->
+                (match p0 with
+                 | XO p1 ->
+                   (match p1 with
+                    | XI p3 ->
+                      (match p3 with
+                       | XI p5 ->
+                         (match p5 with
+                          | XI p6 ->
+                            (match p6 with
+                             | XI p7 ->
+                               (match p7 with
+                                | XH -> true
+                                | _ -> false)
+                             | _ -> false)
+                          | _ -> false)
+                       | _ -> false)
+                    | _ -> false)
+                 | _ -> false)
+              | _ -> false)
+           | _ -> false)))
+
+(** val has_placeholder : str -> bool **)
+
+let rec has_placeholder = function
+| [] -> false
+| c :: t0 ->
+  (||)
+    ((&&) (Z.eqb c (Zpos (XI (XI (XO (XI (XI (XI XH))))))))
+      (placeholder_here t0)) (has_placeholder t0)
+
+(** val nth_transformer_ok : str -> bool **)
+
+let nth_transformer_ok s =
+  if nth_expr s
+  then (match split_nth s with
+        | Some _ -> true
+        | None -> false)
+  else has_placeholder s
+
+(** val delim_unescape : str -> str **)
+
+let rec delim_unescape s = match s with
+| [] -> s
+| c1 :: t1 ->
+  (match t1 with
+   | [] -> s
+   | c2 :: t0 ->
+     if (&&) (Z.eqb c1 (Zpos (XO (XO (XI (XI (XI (XO XH))))))))
+          (Z.eqb c2 (Zpos (XO (XO (XI (XO (XI (XI XH))))))))
+     then (Zpos (XI (XO (XO XH)))) :: (delim_unescape t0)
+     else c1 :: (delim_unescape t1))
+
+(** val parse_height : str -> val0 option **)
+
+let parse_height s = match s with
+| [] ->
+  let auto = false in
+  let neg =
+    match s with
+    | [] -> false
+    | c :: _ -> Z.eqb c (Zpos (XI (XO (XI (XI (XO XH))))))
+  in
+  if (&&) neg auto
+  then None
+  else let s0 = if neg then skipn (S O) s else s in
+       let percent = has_suffix ((Zpos (XI (XO (XI (XO (XO XH)))))) :: []) s0
+       in
+       if percent
+       then (match atoi (firstn (sub (length s0) (S O)) s0) with
+             | Some v ->
+               if (||) (Z.ltb v Z0)
+                    (Z.ltb (Zpos (XO (XO (XI (XO (XO (XI XH))))))) v)
+               then None
+               else Some (VL ((VI
+                      v) :: (t :: ((vbool auto) :: ((vbool neg) :: [])))))
+             | None -> None)
+       else if contains (dOT :: []) s0
+            then None
+            else (match atoi s0 with
+                  | Some v ->
+                    if Z.ltb v Z0
+                    then None
+                    else Some (VL ((VI
+                           v) :: (fv :: ((vbool auto) :: ((vbool neg) :: [])))))
+                  | None -> None)
+| c :: r ->
+  if Z.eqb c (Zpos (XO (XI (XI (XI (XI (XI XH)))))))
+  then let auto = true in
+       let neg =
+         match r with
+         | [] -> false
+         | c0 :: _ -> Z.eqb c0 (Zpos (XI (XO (XI (XI (XO XH))))))
+       in
+       if (&&) neg auto
+       then None
+       else let s0 = if neg then skipn (S O) r else r in
+            let percent =
+              has_suffix ((Zpos (XI (XO (XI (XO (XO XH)))))) :: []) s0
+            in
+            if percent
+            then (match atoi (firstn (sub (length s0) (S O)) s0) with
+                  | Some v ->
+                    if (||) (Z.ltb v Z0)
+                         (Z.ltb (Zpos (XO (XO (XI (XO (XO (XI XH))))))) v)
+                    then None
+                    else Some (VL ((VI
+                           v) :: (t :: ((vbool auto) :: ((vbool neg) :: [])))))
+                  | None -> None)
+            else if contains (dOT :: []) s0
+                 then None
+                 else (match atoi s0 with
+                       | Some v ->
+                         if Z.ltb v Z0
+                         then None
+                         else Some (VL ((VI
+                                v) :: (fv :: ((vbool auto) :: ((vbool neg) :: [])))))
+                       | None -> None)
+  else let auto = false in
+       let neg =
+         match s with
+         | [] -> false
+         | c0 :: _ -> Z.eqb c0 (Zpos (XI (XO (XI (XI (XO XH))))))
+       in
+       if (&&) neg auto
+       then None
+       else let s0 = if neg then skipn (S O) s else s in
+            let percent =
+              has_suffix ((Zpos (XI (XO (XI (XO (XO XH)))))) :: []) s0
+            in
+            if percent
+            then (match atoi (firstn (sub (length s0) (S O)) s0) with
+                  | Some v ->
+                    if (||) (Z.ltb v Z0)
+                         (Z.ltb (Zpos (XO (XO (XI (XO (XO (XI XH))))))) v)
+                    then None
+                    else Some (VL ((VI
+                           v) :: (t :: ((vbool auto) :: ((vbool neg) :: [])))))
+                  | None -> None)
+            else if contains (dOT :: []) s0
+                 then None
+                 else (match atoi s0 with
+                       | Some v ->
+                         if Z.ltb v Z0
+                         then None
+                         else Some (VL ((VI
+                                v) :: (fv :: ((vbool auto) :: ((vbool neg) :: [])))))
+                       | None -> None)
+
+(** val str_lines : str -> str list **)
+
+let str_lines s =
+  split_on (Zpos (XO (XI (XO XH))))
+    (if has_suffix ((Zpos (XO (XI (XO XH)))) :: []) s
+     then firstn (sub (length s) (S O)) s
+     else s)
+
+(** val walker_loop :
+    str list -> bool -> bool -> bool -> bool -> val0 option **)
+
+let rec walker_loop toks f d h l =
+  match toks with
+  | [] ->
+    if (||) f d
+    then Some (VL
+           ((vbool f) :: ((vbool d) :: ((vbool h) :: ((vbool l) :: [])))))
+    else None
+  | t0 :: r ->
+    if str_eqb t0 s_file
+    then walker_loop r true d h l
+    else if str_eqb t0 s_dir
+         then walker_loop r f true h l
+         else if str_eqb t0 s_hidden
+              then walker_loop r f d true l
+              else if str_eqb t0 s_follow
+                   then walker_loop r f d h true
+                   else (match t0 with
+                         | [] -> walker_loop r f d h l
+                         | _ :: _ -> None)
+
+(** val parse_listen : str -> val0 option **)
+
+let parse_listen addr =
+  let parts = split_on cOLON addr in
+  let hp =
+    match parts with
+    | [] -> None
+    | h :: l ->
+      (match l with
+       | [] -> Some (s_localhost, h)
+       | p :: l0 -> (match l0 with
+                     | [] -> Some (h, p)
+                     | _ :: _ -> None))
+  in
+  (match hp with
+   | Some p0 ->
+     let (h, p) = p0 in
+     (match atoi p with
+      | Some n ->
+        if (||) (Z.ltb n Z0)
+             (Z.ltb (Zpos (XI (XI (XI (XI (XI (XI (XI (XI (XI (XI (XI (XI (XI
+               (XI (XI XH)))))))))))))))) n)
+        then None
+        else Some (VL
+               ((vstr (match h with
+                       | [] -> s_localhost
+                       | _ :: _ -> h)) :: ((VI n) :: [])))
+      | None -> None)
+   | None -> None)
+
+(** val run_parser : pid -> str -> val0 list option **)
+
+let run_parser p s =
+  match p with
+  | PStr -> Some ((vstr s) :: [])
+  | PSomeStr -> Some ((vsome (vstr s)) :: [])
+  | PInt -> (match atoi s with
+             | Some n -> Some ((VI n) :: [])
+             | None -> None)
+  | PPosInt ->
+    (match atoi s with
+     | Some n -> if Z.ltb Z0 n then Some ((VI n) :: []) else None
+     | None -> None)
+  | PAlgo ->
+    if str_eqb s s_v1
+    then Some ((VI (Zpos XH)) :: [])
+    else if str_eqb s s_v2 then Some ((VI (Zpos (XO XH))) :: []) else None
+  | PScheme ->
+    (match scheme_criteria (to_lower s) with
+     | Some c -> Some ((vstr (to_lower s)) :: ((vints c) :: []))
+     | None -> None)
+  | PTiebreak ->
+    (match parse_tiebreak s with
+     | Some c -> Some ((vints c) :: [])
+     | None -> None)
+  | PNth ->
+    (match split_nth s with
+     | Some rs ->
+       Some ((VL
+         (map (fun r -> VL ((VI (fst r)) :: ((VI (snd r)) :: []))) rs)) :: [])
+     | None -> None)
+  | PNthT -> if nth_transformer_ok s then Some (t :: []) else None
+  | PDelim -> Some ((vsome (vstr (delim_unescape s))) :: [])
+  | PLayout ->
+    if str_eqb s s_default
+    then Some ((VI Z0) :: [])
+    else if str_eqb s s_reverse
+         then Some ((VI (Zpos XH)) :: [])
+         else if str_eqb s s_reverse_list
+              then Some ((VI (Zpos (XO XH))) :: [])
+              else None
+  | PHeight ->
+    (match parse_height s with
+     | Some v -> Some (v :: [])
+     | None -> None)
+  | PLines -> Some ((vstrs (str_lines s)) :: [])
+  | PWalker ->
+    (match walker_loop (split_on cOMMA (to_lower s)) false false false false with
+     | Some v -> Some (v :: [])
+     | None -> None)
+  | PSkip -> Some ((vstrs (filter nonemptyb (split_on cOMMA s))) :: [])
+
+type okind =
+| KFlag of (field * val0) list
+| KReq of field list * pid
+| KOptNum of field * z
+| KListen of bool
+| KDirs of field
+| KHistory
+| KHistorySize
+| KExpect
+| KNoExpect
+| KBind
+
+(** val height_zero : val0 **)
+
+let height_zero =
+  VL ((VI Z0) :: (fv :: (fv :: (fv :: []))))
+
+(** val mAX_MULTI : z **)
+
+let mAX_MULTI =
+  Zpos (XI (XI (XI (XI (XI (XI (XI (XI (XI (XI (XI (XI (XI (XI (XI (XI (XI
+    (XI (XI (XI (XI (XI (XI (XI (XI (XI (XI (XI (XI (XI
+    XH))))))))))))))))))))))))))))))
+
+(** val opt_table : (str * okind) list **)
+
+let opt_table =
+  (((Zpos (XI (XO (XI (XI (XO XH)))))) :: ((Zpos (XO (XO (XO (XI (XI (XI
+    XH))))))) :: [])), (KFlag (((S O), (VI (Zpos XH))) :: []))) :: ((((Zpos
+    (XI (XO (XI (XI (XO XH)))))) :: ((Zpos (XI (XO (XI (XI (XO
+    XH)))))) :: ((Zpos (XI (XO (XI (XO (XO (XI XH))))))) :: ((Zpos (XO (XO
+    (XO (XI (XI (XI XH))))))) :: ((Zpos (XO (XO (XI (XO (XI (XI
+    XH))))))) :: ((Zpos (XI (XO (XI (XO (XO (XI XH))))))) :: ((Zpos (XO (XI
+    (XI (XI (XO (XI XH))))))) :: ((Zpos (XO (XO (XI (XO (XO (XI
+    XH))))))) :: ((Zpos (XI (XO (XI (XO (XO (XI XH))))))) :: ((Zpos (XO (XO
+    (XI (XO (XO (XI XH))))))) :: [])))))))))), (KFlag (((S O), (VI (Zpos
+    XH))) :: []))) :: ((((Zpos (XI (XO (XI (XI (XO XH)))))) :: ((Zpos (XI (XO
+    (XI (XO (XO (XI XH))))))) :: [])), (KFlag ((O, (VI
+    Z0)) :: []))) :: ((((Zpos (XI (XO (XI (XI (XO XH)))))) :: ((Zpos (XI (XO
+    (XI (XI (XO XH)))))) :: ((Zpos (XI (XO (XI (XO (XO (XI
+    XH))))))) :: ((Zpos (XO (XO (XO (XI (XI (XI XH))))))) :: ((Zpos (XI (XO
+    (XO (XO (XO (XI XH))))))) :: ((Zpos (XI (XI (XO (XO (XO (XI
+    XH))))))) :: ((Zpos (XO (XO (XI (XO (XI (XI XH))))))) :: []))))))),
+    (KFlag ((O, (VI Z0)) :: []))) :: ((((Zpos (XI (XO (XI (XI (XO
+    XH)))))) :: ((Zpos (XI (XO (XI (XI (XO XH)))))) :: ((Zpos (XI (XO (XI (XO
+    (XO (XI XH))))))) :: ((Zpos (XO (XO (XO (XI (XI (XI XH))))))) :: ((Zpos
+    (XO (XO (XI (XO (XI (XI XH))))))) :: ((Zpos (XI (XO (XI (XO (XO (XI
+    XH))))))) :: ((Zpos (XO (XI (XI (XI (XO (XI XH))))))) :: ((Zpos (XO (XO
+    (XI (XO (XO (XI XH))))))) :: ((Zpos (XI (XO (XI (XO (XO (XI
+    XH))))))) :: ((Zpos (XO (XO (XI (XO (XO (XI XH))))))) :: ((Zpos (XI (XO
+    (XI (XI (XO XH)))))) :: ((Zpos (XI (XO (XI (XO (XO (XI
+    XH))))))) :: ((Zpos (XO (XO (XO (XI (XI (XI XH))))))) :: ((Zpos (XI (XO
+    (XO (XO (XO (XI XH))))))) :: ((Zpos (XI (XI (XO (XO (XO (XI
+    XH))))))) :: ((Zpos (XO (XO (XI (XO (XI (XI
+    XH))))))) :: [])))))))))))))))), (KFlag ((O, (VI Z0)) :: (((S O), (VI
+    (Zpos XH))) :: [])))) :: ((((Zpos (XI (XI (XO (XI (XO XH)))))) :: ((Zpos
+    (XO (XO (XO (XI (XI (XI XH))))))) :: [])), (KFlag (((S O), (VI
+    Z0)) :: []))) :: ((((Zpos (XI (XO (XI (XI (XO XH)))))) :: ((Zpos (XI (XO
+    (XI (XI (XO XH)))))) :: ((Zpos (XO (XI (XI (XI (XO (XI
+    XH))))))) :: ((Zpos (XI (XI (XI (XI (XO (XI XH))))))) :: ((Zpos (XI (XO
+    (XI (XI (XO XH)))))) :: ((Zpos (XI (XO (XI (XO (XO (XI
+    XH))))))) :: ((Zpos (XO (XO (XO (XI (XI (XI XH))))))) :: ((Zpos (XO (XO
+    (XI (XO (XI (XI XH))))))) :: ((Zpos (XI (XO (XI (XO (XO (XI
+    XH))))))) :: ((Zpos (XO (XI (XI (XI (XO (XI XH))))))) :: ((Zpos (XO (XO
+    (XI (XO (XO (XI XH))))))) :: ((Zpos (XI (XO (XI (XO (XO (XI
+    XH))))))) :: ((Zpos (XO (XO (XI (XO (XO (XI XH))))))) :: []))))))))))))),
+    (KFlag (((S O), (VI Z0)) :: []))) :: ((((Zpos (XI (XI (XO (XI (XO
+    XH)))))) :: ((Zpos (XI (XO (XI (XO (XO (XI XH))))))) :: [])), (KFlag ((O,
+    (VI (Zpos XH))) :: []))) :: ((((Zpos (XI (XO (XI (XI (XO
+    XH)))))) :: ((Zpos (XI (XO (XI (XI (XO XH)))))) :: ((Zpos (XO (XI (XI (XI
+    (XO (XI XH))))))) :: ((Zpos (XI (XI (XI (XI (XO (XI XH))))))) :: ((Zpos
+    (XI (XO (XI (XI (XO XH)))))) :: ((Zpos (XI (XO (XI (XO (XO (XI
+    XH))))))) :: ((Zpos (XO (XO (XO (XI (XI (XI XH))))))) :: ((Zpos (XI (XO
+    (XO (XO (XO (XI XH))))))) :: ((Zpos (XI (XI (XO (XO (XO (XI
+    XH))))))) :: ((Zpos (XO (XO (XI (XO (XI (XI XH))))))) :: [])))))))))),
+    (KFlag ((O, (VI (Zpos XH))) :: []))) :: ((((Zpos (XI (XO (XI (XI (XO
+    XH)))))) :: ((Zpos (XI (XO (XI (XI (XO XH)))))) :: ((Zpos (XO (XO (XI (XI
+    (XO (XI XH))))))) :: ((Zpos (XI (XO (XO (XI (XO (XI XH))))))) :: ((Zpos
+    (XO (XO (XI (XO (XI (XI XH))))))) :: ((Zpos (XI (XO (XI (XO (XO (XI
+    XH))))))) :: ((Zpos (XO (XI (XO (XO (XI (XI XH))))))) :: ((Zpos (XI (XO
+    (XO (XO (XO (XI XH))))))) :: ((Zpos (XO (XO (XI (XI (XO (XI
+    XH))))))) :: []))))))))), (KFlag (((S (S (S (S (S O))))), (VI
+    Z0)) :: []))) :: ((((Zpos (XI (XO (XI (XI (XO XH)))))) :: ((Zpos (XI (XO
+    (XI (XI (XO XH)))))) :: ((Zpos (XO (XI (XI (XI (XO (XI
+    XH))))))) :: ((Zpos (XI (XI (XI (XI (XO (XI XH))))))) :: ((Zpos (XI (XO
+    (XI (XI (XO XH)))))) :: ((Zpos (XO (XO (XI (XI (XO (XI
+    XH))))))) :: ((Zpos (XI (XO (XO (XI (XO (XI XH))))))) :: ((Zpos (XO (XO
+    (XI (XO (XI (XI XH))))))) :: ((Zpos (XI (XO (XI (XO (XO (XI
+    XH))))))) :: ((Zpos (XO (XI (XO (XO (XI (XI XH))))))) :: ((Zpos (XI (XO
+    (XO (XO (XO (XI XH))))))) :: ((Zpos (XO (XO (XI (XI (XO (XI
+    XH))))))) :: [])))))))))))), (KFlag (((S (S (S (S (S O))))), (VI (Zpos
+    XH))) :: []))) :: ((((Zpos (XI (XO (XI (XI (XO XH)))))) :: ((Zpos (XI (XO
+    (XI (XI (XO XH)))))) :: ((Zpos (XI (XO (XI (XO (XO (XI
+    XH))))))) :: ((Zpos (XO (XI (XI (XI (XO (XI XH))))))) :: ((Zpos (XI (XO
+    (XO (XO (XO (XI XH))))))) :: ((Zpos (XO (XI (XO (XO (XO (XI
+    XH))))))) :: ((Zpos (XO (XO (XI (XI (XO (XI XH))))))) :: ((Zpos (XI (XO
+    (XI (XO (XO (XI XH))))))) :: ((Zpos (XO (XO (XI (XO (XO (XI
+    XH))))))) :: []))))))))), (KFlag (((S (S O)), (VI
+    Z0)) :: []))) :: ((((Zpos (XI (XO (XI (XI (XO XH)))))) :: ((Zpos (XI (XO
+    (XI (XI (XO XH)))))) :: ((Zpos (XO (XI (XI (XI (XO (XI
+    XH))))))) :: ((Zpos (XI (XI (XI (XI (XO (XI XH))))))) :: ((Zpos (XI (XO
+    (XI (XI (XO XH)))))) :: ((Zpos (XO (XO (XO (XO (XI (XI
+    XH))))))) :: ((Zpos (XO (XO (XO (XI (XO (XI XH))))))) :: ((Zpos (XI (XI
+    (XI (XI (XO (XI XH))))))) :: ((Zpos (XO (XI (XI (XI (XO (XI
+    XH))))))) :: ((Zpos (XI (XO (XO (XI (XI (XI XH))))))) :: [])))))))))),
+    (KFlag (((S (S O)), (VI Z0)) :: []))) :: ((((Zpos (XI (XO (XI (XI (XO
+    XH)))))) :: ((Zpos (XI (XO (XI (XI (XO XH)))))) :: ((Zpos (XO (XO (XI (XO
+    (XO (XI XH))))))) :: ((Zpos (XI (XO (XO (XI (XO (XI XH))))))) :: ((Zpos
+    (XI (XI (XO (XO (XI (XI XH))))))) :: ((Zpos (XI (XO (XO (XO (XO (XI
+    XH))))))) :: ((Zpos (XO (XI (XO (XO (XO (XI XH))))))) :: ((Zpos (XO (XO
+    (XI (XI (XO (XI XH))))))) :: ((Zpos (XI (XO (XI (XO (XO (XI
+    XH))))))) :: ((Zpos (XO (XO (XI (XO (XO (XI XH))))))) :: [])))))))))),
+    (KFlag (((S (S O)), (VI (Zpos XH))) :: []))) :: ((((Zpos (XI (XO (XI (XI
+    (XO XH)))))) :: ((Zpos (XI (XO (XI (XI (XO XH)))))) :: ((Zpos (XO (XO (XO
+    (XO (XI (XI XH))))))) :: ((Zpos (XO (XO (XO (XI (XO (XI
+    XH))))))) :: ((Zpos (XI (XI (XI (XI (XO (XI XH))))))) :: ((Zpos (XO (XI
+    (XI (XI (XO (XI XH))))))) :: ((Zpos (XI (XO (XO (XI (XI (XI
+    XH))))))) :: []))))))), (KFlag (((S (S O)), (VI (Zpos
+    XH))) :: []))) :: ((((Zpos (XI (XO (XI (XI (XO XH)))))) :: ((Zpos (XI (XO
+    (XI (XI (XO XH)))))) :: ((Zpos (XO (XI (XI (XI (XO (XI
+    XH))))))) :: ((Zpos (XI (XI (XI (XI (XO (XI XH))))))) :: ((Zpos (XI (XO
+    (XI (XI (XO XH)))))) :: ((Zpos (XI (XO (XO (XI (XO (XI
+    XH))))))) :: ((Zpos (XO (XI (XI (XI (XO (XI XH))))))) :: ((Zpos (XO (XO
+    (XO (XO (XI (XI XH))))))) :: ((Zpos (XI (XO (XI (XO (XI (XI
+    XH))))))) :: ((Zpos (XO (XO (XI (XO (XI (XI XH))))))) :: [])))))))))),
+    (KFlag (((S (S (S O))), (VI (Zpos XH))) :: []))) :: ((((Zpos (XI (XI (XO
+    (XI (XO XH)))))) :: ((Zpos (XI (XI (XO (XO (XI (XI XH))))))) :: [])),
+    (KFlag (((S (S (S (S (S (S (S (S (S (S (S (S (S O))))))))))))), (VI
+    Z0)) :: []))) :: ((((Zpos (XI (XO (XI (XI (XO XH)))))) :: ((Zpos (XI (XO
+    (XI (XI (XO XH)))))) :: ((Zpos (XO (XI (XI (XI (XO (XI
+    XH))))))) :: ((Zpos (XI (XI (XI (XI (XO (XI XH))))))) :: ((Zpos (XI (XO
+    (XI (XI (XO XH)))))) :: ((Zpos (XI (XI (XO (XO (XI (XI
+    XH))))))) :: ((Zpos (XI (XI (XI (XI (XO (XI XH))))))) :: ((Zpos (XO (XI
+    (XO (XO (XI (XI XH))))))) :: ((Zpos (XO (XO (XI (XO (XI (XI
+    XH))))))) :: []))))))))), (KFlag (((S (S (S (S (S (S (S (S (S (S (S (S (S
+    O))))))))))))), (VI Z0)) :: []))) :: ((((Zpos (XI (XO (XI (XI (XO
+    XH)))))) :: ((Zpos (XI (XO (XI (XI (XO XH)))))) :: ((Zpos (XO (XO (XI (XO
+    (XI (XI XH))))))) :: ((Zpos (XO (XI (XO (XO (XI (XI XH))))))) :: ((Zpos
+    (XI (XO (XO (XO (XO (XI XH))))))) :: ((Zpos (XI (XI (XO (XO (XO (XI
+    XH))))))) :: ((Zpos (XI (XI (XO (XI (XO (XI XH))))))) :: []))))))),
+    (KFlag (((S (S (S (S (S (S (S (S (S (S (S (S (S (S O)))))))))))))), (VI
+    (Zpos XH))) :: []))) :: ((((Zpos (XI (XO (XI (XI (XO XH)))))) :: ((Zpos
+    (XI (XO (XI (XI (XO XH)))))) :: ((Zpos (XO (XI (XI (XI (XO (XI
+    XH))))))) :: ((Zpos (XI (XI (XI (XI (XO (XI XH))))))) :: ((Zpos (XI (XO
+    (XI (XI (XO XH)))))) :: ((Zpos (XO (XO (XI (XO (XI (XI
+    XH))))))) :: ((Zpos (XO (XI (XO (XO (XI (XI XH))))))) :: ((Zpos (XI (XO
+    (XO (XO (XO (XI XH))))))) :: ((Zpos (XI (XI (XO (XO (XO (XI
+    XH))))))) :: ((Zpos (XI (XI (XO (XI (XO (XI XH))))))) :: [])))))))))),
+    (KFlag (((S (S (S (S (S (S (S (S (S (S (S (S (S (S O)))))))))))))), (VI
+    Z0)) :: []))) :: ((((Zpos (XI (XO (XI (XI (XO XH)))))) :: ((Zpos (XI (XO
+    (XI (XI (XO XH)))))) :: ((Zpos (XO (XO (XI (XO (XI (XI
+    XH))))))) :: ((Zpos (XI (XO (XO (XO (XO (XI XH))))))) :: ((Zpos (XI (XI
+    (XO (XO (XO (XI XH))))))) :: []))))), (KFlag (((S (S (S (S (S (S (S (S (S
+    (S (S (S (S (S (S O))))))))))))))), (VI (Zpos XH))) :: []))) :: ((((Zpos
+    (XI (XO (XI (XI (XO XH)))))) :: ((Zpos (XI (XO (XI (XI (XO
+    XH)))))) :: ((Zpos (XO (XI (XI (XI (XO (XI XH))))))) :: ((Zpos (XI (XI
+    (XI (XI (XO (XI XH))))))) :: ((Zpos (XI (XO (XI (XI (XO
+    XH)))))) :: ((Zpos (XO (XO (XI (XO (XI (XI XH))))))) :: ((Zpos (XI (XO
+    (XO (XO (XO (XI XH))))))) :: ((Zpos (XI (XI (XO (XO (XO (XI
+    XH))))))) :: [])))))))), (KFlag (((S (S (S (S (S (S (S (S (S (S (S (S (S
+    (S (S O))))))))))))))), (VI Z0)) :: []))) :: ((((Zpos (XI (XO (XI (XI (XO
+    XH)))))) :: ((Zpos (XI (XO (XI (XI (XO XH)))))) :: ((Zpos (XO (XI (XI (XI
+    (XO (XI XH))))))) :: ((Zpos (XI (XI (XI (XI (XO (XI XH))))))) :: ((Zpos
+    (XI (XO (XI (XI (XO XH)))))) :: ((Zpos (XO (XO (XI (XO (XI (XI
+    XH))))))) :: ((Zpos (XI (XO (XO (XO (XO (XI XH))))))) :: ((Zpos (XI (XO
+    (XO (XI (XO (XI XH))))))) :: ((Zpos (XO (XO (XI (XI (XO (XI
+    XH))))))) :: []))))))))), (KFlag (((S (S (S (S (S (S (S (S (S (S (S (S (S
+    (S (S (S O)))))))))))))))), (VI Z0)) :: []))) :: ((((Zpos (XI (XO (XI (XI
+    (XO XH)))))) :: ((Zpos (XI (XO (XI (XI (XO XH)))))) :: ((Zpos (XI (XI (XO
+    (XO (XI (XI XH))))))) :: ((Zpos (XI (XO (XI (XI (XO (XI
+    XH))))))) :: ((Zpos (XI (XO (XO (XO (XO (XI XH))))))) :: ((Zpos (XO (XI
+    (XO (XO (XI (XI XH))))))) :: ((Zpos (XO (XO (XI (XO (XI (XI
+    XH))))))) :: ((Zpos (XI (XO (XI (XI (XO XH)))))) :: ((Zpos (XI (XI (XO
+    (XO (XO (XI XH))))))) :: ((Zpos (XI (XO (XO (XO (XO (XI
+    XH))))))) :: ((Zpos (XI (XI (XO (XO (XI (XI XH))))))) :: ((Zpos (XI (XO
+    (XI (XO (XO (XI XH))))))) :: [])))))))))))), (KFlag (((S (S (S (S O)))),
+    (VI Z0)) :: []))) :: ((((Zpos (XI (XO (XI (XI (XO XH)))))) :: ((Zpos (XI
+    (XO (XO (XI (XO (XI XH))))))) :: [])), (KFlag (((S (S (S (S O)))), (VI
+    (Zpos XH))) :: []))) :: ((((Zpos (XI (XO (XI (XI (XO XH)))))) :: ((Zpos
+    (XI (XO (XI (XI (XO XH)))))) :: ((Zpos (XI (XO (XO (XI (XO (XI
+    XH))))))) :: ((Zpos (XI (XI (XI (XO (XO (XI XH))))))) :: ((Zpos (XO (XI
+    (XI (XI (XO (XI XH))))))) :: ((Zpos (XI (XI (XI (XI (XO (XI
+    XH))))))) :: ((Zpos (XO (XI (XO (XO (XI (XI XH))))))) :: ((Zpos (XI (XO
+    (XI (XO (XO (XI XH))))))) :: ((Zpos (XI (XO (XI (XI (XO
+    XH)))))) :: ((Zpos (XI (XI (XO (XO (XO (XI XH))))))) :: ((Zpos (XI (XO
+    (XO (XO (XO (XI XH))))))) :: ((Zpos (XI (XI (XO (XO (XI (XI
+    XH))))))) :: ((Zpos (XI (XO (XI (XO (XO (XI XH))))))) :: []))))))))))))),
+    (KFlag (((S (S (S (S O)))), (VI (Zpos XH))) :: []))) :: ((((Zpos (XI (XI
+    (XO (XI (XO XH)))))) :: ((Zpos (XI (XO (XO (XI (XO (XI XH))))))) :: [])),
+    (KFlag (((S (S (S (S O)))), (VI (Zpos (XO XH)))) :: []))) :: ((((Zpos (XI
+    (XO (XI (XI (XO XH)))))) :: ((Zpos (XI (XO (XI (XI (XO XH)))))) :: ((Zpos
+    (XO (XI (XI (XI (XO (XI XH))))))) :: ((Zpos (XI (XI (XI (XI (XO (XI
+    XH))))))) :: ((Zpos (XI (XO (XI (XI (XO XH)))))) :: ((Zpos (XI (XO (XO
+    (XI (XO (XI XH))))))) :: ((Zpos (XI (XI (XI (XO (XO (XI
+    XH))))))) :: ((Zpos (XO (XI (XI (XI (XO (XI XH))))))) :: ((Zpos (XI (XI
+    (XI (XI (XO (XI XH))))))) :: ((Zpos (XO (XI (XO (XO (XI (XI
+    XH))))))) :: ((Zpos (XI (XO (XI (XO (XO (XI XH))))))) :: ((Zpos (XI (XO
+    (XI (XI (XO XH)))))) :: ((Zpos (XI (XI (XO (XO (XO (XI
+    XH))))))) :: ((Zpos (XI (XO (XO (XO (XO (XI XH))))))) :: ((Zpos (XI (XI
+    (XO (XO (XI (XI XH))))))) :: ((Zpos (XI (XO (XI (XO (XO (XI
+    XH))))))) :: [])))))))))))))))), (KFlag (((S (S (S (S O)))), (VI (Zpos
+    (XO XH)))) :: []))) :: ((((Zpos (XI (XI (XO (XI (XO XH)))))) :: ((Zpos
+    (XI (XO (XI (XI (XO (XI XH))))))) :: [])), (KFlag (((S (S (S (S (S (S (S
+    (S (S (S (S (S (S (S (S (S (S O))))))))))))))))), (VI
+    Z0)) :: []))) :: ((((Zpos (XI (XO (XI (XI (XO XH)))))) :: ((Zpos (XI (XO
+    (XI (XI (XO XH)))))) :: ((Zpos (XO (XI (XI (XI (XO (XI
+    XH))))))) :: ((Zpos (XI (XI (XI (XI (XO (XI XH))))))) :: ((Zpos (XI (XO
+    (XI (XI (XO XH)))))) :: ((Zpos (XI (XO (XI (XI (XO (XI
+    XH))))))) :: ((Zpos (XI (XO (XI (XO (XI (XI XH))))))) :: ((Zpos (XO (XO
+    (XI (XI (XO (XI XH))))))) :: ((Zpos (XO (XO (XI (XO (XI (XI
+    XH))))))) :: ((Zpos (XI (XO (XO (XI (XO (XI XH))))))) :: [])))))))))),
+    (KFlag (((S (S (S (S (S (S (S (S (S (S (S (S (S (S (S (S (S
+    O))))))))))))))))), (VI Z0)) :: []))) :: ((((Zpos (XI (XO (XI (XI (XO
+    XH)))))) :: ((Zpos (XI (XO (XI (XI (XO XH)))))) :: ((Zpos (XI (XO (XO (XO
+    (XO (XI XH))))))) :: ((Zpos (XO (XI (XI (XI (XO (XI XH))))))) :: ((Zpos
+    (XI (XI (XO (XO (XI (XI XH))))))) :: ((Zpos (XI (XO (XO (XI (XO (XI
+    XH))))))) :: [])))))), (KFlag (((S (S (S (S (S (S (S (S (S (S (S (S (S (S
+    (S (S (S (S O)))))))))))))))))), (VI (Zpos XH))) :: []))) :: ((((Zpos (XI
+    (XO (XI (XI (XO XH)))))) :: ((Zpos (XI (XO (XI (XI (XO XH)))))) :: ((Zpos
+    (XO (XI (XI (XI (XO (XI XH))))))) :: ((Zpos (XI (XI (XI (XI (XO (XI
+    XH))))))) :: ((Zpos (XI (XO (XI (XI (XO XH)))))) :: ((Zpos (XI (XO (XO
+    (XO (XO (XI XH))))))) :: ((Zpos (XO (XI (XI (XI (XO (XI
+    XH))))))) :: ((Zpos (XI (XI (XO (XO (XI (XI XH))))))) :: ((Zpos (XI (XO
+    (XO (XI (XO (XI XH))))))) :: []))))))))), (KFlag (((S (S (S (S (S (S (S
+    (S (S (S (S (S (S (S (S (S (S (S O)))))))))))))))))), (VI
+    Z0)) :: []))) :: ((((Zpos (XI (XO (XI (XI (XO XH)))))) :: ((Zpos (XI (XO
+    (XI (XI (XO XH)))))) :: ((Zpos (XO (XI (XI (XI (XO (XI
+    XH))))))) :: ((Zpos (XI (XI (XI (XI (XO (XI XH))))))) :: ((Zpos (XI (XO
+    (XI (XI (XO XH)))))) :: ((Zpos (XI (XO (XI (XI (XO (XI
+    XH))))))) :: ((Zpos (XI (XI (XI (XI (XO (XI XH))))))) :: ((Zpos (XI (XO
+    (XI (XO (XI (XI XH))))))) :: ((Zpos (XI (XI (XO (XO (XI (XI
+    XH))))))) :: ((Zpos (XI (XO (XI (XO (XO (XI XH))))))) :: [])))))))))),
+    (KFlag (((S (S (S (S (S (S (S (S (S (S (S (S (S (S (S (S (S (S (S (S (S
+    (S (S (S (S (S (S (S (S (S (S (S (S (S (S (S (S (S (S (S (S (S (S (S (S
+    (S O)))))))))))))))))))))))))))))))))))))))))))))), (VI
+    Z0)) :: []))) :: ((((Zpos (XI (XO (XI (XI (XO XH)))))) :: ((Zpos (XI (XO
+    (XI (XI (XO XH)))))) :: ((Zpos (XO (XI (XO (XO (XO (XI
+    XH))))))) :: ((Zpos (XO (XO (XI (XI (XO (XI XH))))))) :: ((Zpos (XI (XO
+    (XO (XO (XO (XI XH))))))) :: ((Zpos (XI (XI (XO (XO (XO (XI
+    XH))))))) :: ((Zpos (XI (XI (XO (XI (XO (XI XH))))))) :: []))))))),
+    (KFlag (((S (S (S (S (S (S (S (S (S (S (S (S (S (S (S (S (S (S (S (S (S
+    (S (S (S (S (S (S (S (S (S (S (S (S (S (S (S (S (S (S (S (S (S (S (S (S
+    (S (S (S O)))))))))))))))))))))))))))))))))))))))))))))))), (VI (Zpos
+    XH))) :: []))) :: ((((Zpos (XI (XO (XI (XI (XO XH)))))) :: ((Zpos (XI (XO
+    (XI (XI (XO XH)))))) :: ((Zpos (XO (XI (XI (XI (XO (XI
+    XH))))))) :: ((Zpos (XI (XI (XI (XI (XO (XI XH))))))) :: ((Zpos (XI (XO
+    (XI (XI (XO XH)))))) :: ((Zpos (XO (XI (XO (XO (XO (XI
+    XH))))))) :: ((Zpos (XO (XO (XI (XI (XO (XI XH))))))) :: ((Zpos (XI (XO
+    (XO (XO (XO (XI XH))))))) :: ((Zpos (XI (XI (XO (XO (XO (XI
+    XH))))))) :: ((Zpos (XI (XI (XO (XI (XO (XI XH))))))) :: [])))))))))),
+    (KFlag (((S (S (S (S (S (S (S (S (S (S (S (S (S (S (S (S (S (S (S (S (S
+    (S (S (S (S (S (S (S (S (S (S (S (S (S (S (S (S (S (S (S (S (S (S (S (S
+    (S (S (S O)))))))))))))))))))))))))))))))))))))))))))))))), (VI
+    Z0)) :: []))) :: ((((Zpos (XI (XO (XI (XI (XO XH)))))) :: ((Zpos (XI (XO
+    (XI (XI (XO XH)))))) :: ((Zpos (XO (XI (XO (XO (XO (XI
+    XH))))))) :: ((Zpos (XI (XI (XI (XI (XO (XI XH))))))) :: ((Zpos (XO (XO
+    (XI (XI (XO (XI XH))))))) :: ((Zpos (XO (XO (XI (XO (XO (XI
+    XH))))))) :: [])))))), (KFlag (((S (S (S (S (S (S (S (S (S (S (S (S (S (S
+    (S (S (S (S (S (S (S (S (S (S (S (S (S (S (S (S (S (S (S (S (S (S (S (S
+    (S (S (S (S (S (S (S (S (S
+    O))))))))))))))))))))))))))))))))))))))))))))))), (VI (Zpos
+    XH))) :: []))) :: ((((Zpos (XI (XO (XI (XI (XO XH)))))) :: ((Zpos (XI (XO
+    (XI (XI (XO XH)))))) :: ((Zpos (XO (XI (XI (XI (XO (XI
+    XH))))))) :: ((Zpos (XI (XI (XI (XI (XO (XI XH))))))) :: ((Zpos (XI (XO
+    (XI (XI (XO XH)))))) :: ((Zpos (XO (XI (XO (XO (XO (XI
+    XH))))))) :: ((Zpos (XI (XI (XI (XI (XO (XI XH))))))) :: ((Zpos (XO (XO
+    (XI (XI (XO (XI XH))))))) :: ((Zpos (XO (XO (XI (XO (XO (XI
+    XH))))))) :: []))))))))), (KFlag (((S (S (S (S (S (S (S (S (S (S (S (S (S
+    (S (S (S (S (S (S (S (S (S (S (S (S (S (S (S (S (S (S (S (S (S (S (S (S
+    (S (S (S (S (S (S (S (S (S (S
+    O))))))))))))))))))))))))))))))))))))))))))))))), (VI
+    Z0)) :: []))) :: ((((Zpos (XI (XO (XI (XI (XO XH)))))) :: ((Zpos (XI (XO
+    (XI (XI (XO XH)))))) :: ((Zpos (XO (XI (XO (XO (XI (XI
+    XH))))))) :: ((Zpos (XI (XO (XI (XO (XO (XI XH))))))) :: ((Zpos (XO (XI
+    (XI (XO (XI (XI XH))))))) :: ((Zpos (XI (XO (XI (XO (XO (XI
+    XH))))))) :: ((Zpos (XO (XI (XO (XO (XI (XI XH))))))) :: ((Zpos (XI (XI
+    (XO (XO (XI (XI XH))))))) :: ((Zpos (XI (XO (XI (XO (XO (XI
+    XH))))))) :: []))))))))), (KFlag (((S (S (S (S (S (S (S (S (S (S (S (S (S
+    (S (S (S (S (S (S O))))))))))))))))))), (VI (Zpos
+    XH))) :: []))) :: ((((Zpos (XI (XO (XI (XI (XO XH)))))) :: ((Zpos (XI (XO
+    (XI (XI (XO XH)))))) :: ((Zpos (XO (XI (XI (XI (XO (XI
+    XH))))))) :: ((Zpos (XI (XI (XI (XI (XO (XI XH))))))) :: ((Zpos (XI (XO
+    (XI (XI (XO XH)))))) :: ((Zpos (XO (XI (XO (XO (XI (XI
+    XH))))))) :: ((Zpos (XI (XO (XI (XO (XO (XI XH))))))) :: ((Zpos (XO (XI
+    (XI (XO (XI (XI XH))))))) :: ((Zpos (XI (XO (XI (XO (XO (XI
+    XH))))))) :: ((Zpos (XO (XI (XO (XO (XI (XI XH))))))) :: ((Zpos (XI (XI
+    (XO (XO (XI (XI XH))))))) :: ((Zpos (XI (XO (XI (XO (XO (XI
+    XH))))))) :: [])))))))))))), (KFlag (((S (S (S (S (S (S (S (S (S (S (S (S
+    (S (S (S (S (S (S (S O))))))))))))))))))), (VI Z0)) :: []))) :: ((((Zpos
+    (XI (XO (XI (XI (XO XH)))))) :: ((Zpos (XI (XO (XI (XI (XO
+    XH)))))) :: ((Zpos (XI (XI (XO (XO (XO (XI XH))))))) :: ((Zpos (XI (XO
+    (XO (XI (XI (XI XH))))))) :: ((Zpos (XI (XI (XO (XO (XO (XI
+    XH))))))) :: ((Zpos (XO (XO (XI (XI (XO (XI XH))))))) :: ((Zpos (XI (XO
+    (XI (XO (XO (XI XH))))))) :: []))))))), (KFlag (((S (S (S (S (S (S (S (S
+    (S (S (S (S (S (S (S (S (S (S (S (S O)))))))))))))))))))), (VI (Zpos
+    XH))) :: []))) :: ((((Zpos (XI (XO (XI (XI (XO XH)))))) :: ((Zpos (XI (XO
+    (XI (XI (XO XH)))))) :: ((Zpos (XO (XI (XI (XI (XO (XI
+    XH))))))) :: ((Zpos (XI (XI (XI (XI (XO (XI XH))))))) :: ((Zpos (XI (XO
+    (XI (XI (XO XH)))))) :: ((Zpos (XI (XI (XO (XO (XO (XI
+    XH))))))) :: ((Zpos (XI (XO (XO (XI (XI (XI XH))))))) :: ((Zpos (XI (XI
+    (XO (XO (XO (XI XH))))))) :: ((Zpos (XO (XO (XI (XI (XO (XI
+    XH))))))) :: ((Zpos (XI (XO (XI (XO (XO (XI XH))))))) :: [])))))))))),
+    (KFlag (((S (S (S (S (S (S (S (S (S (S (S (S (S (S (S (S (S (S (S (S
+    O)))))))))))))))))))), (VI Z0)) :: []))) :: ((((Zpos (XI (XO (XI (XI (XO
+    XH)))))) :: ((Zpos (XI (XO (XI (XI (XO XH)))))) :: ((Zpos (XO (XO (XO (XI
+    (XO (XI XH))))))) :: ((Zpos (XI (XO (XO (XI (XO (XI XH))))))) :: ((Zpos
+    (XI (XI (XI (XO (XO (XI XH))))))) :: ((Zpos (XO (XO (XO (XI (XO (XI
+    XH))))))) :: ((Zpos (XO (XO (XI (XI (XO (XI XH))))))) :: ((Zpos (XI (XO
+    (XO (XI (XO (XI XH))))))) :: ((Zpos (XI (XI (XI (XO (XO (XI
+    XH))))))) :: ((Zpos (XO (XO (XO (XI (XO (XI XH))))))) :: ((Zpos (XO (XO
+    (XI (XO (XI (XI XH))))))) :: ((Zpos (XI (XO (XI (XI (XO
+    XH)))))) :: ((Zpos (XO (XO (XI (XI (XO (XI XH))))))) :: ((Zpos (XI (XO
+    (XO (XI (XO (XI XH))))))) :: ((Zpos (XO (XI (XI (XI (XO (XI
+    XH))))))) :: ((Zpos (XI (XO (XI (XO (XO (XI
+    XH))))))) :: [])))))))))))))))), (KFlag (((S (S (S (S (S (S (S (S (S (S
+    (S (S (S (S (S (S (S (S (S (S (S (S (S (S (S (S (S (S (S (S (S (S (S (S
+    (S (S (S (S (S (S (S (S (S (S (S (S (S (S (S (S (S (S (S (S (S
+    O))))))))))))))))))))))))))))))))))))))))))))))))))))))), (VI (Zpos
+    XH))) :: []))) :: ((((Zpos (XI (XO (XI (XI (XO XH)))))) :: ((Zpos (XI (XO
+    (XI (XI (XO XH)))))) :: ((Zpos (XO (XI (XI (XI (XO (XI
+    XH))))))) :: ((Zpos (XI (XI (XI (XI (XO (XI XH))))))) :: ((Zpos (XI (XO
+    (XI (XI (XO XH)))))) :: ((Zpos (XO (XO (XO (XI (XO (XI
+    XH))))))) :: ((Zpos (XI (XO (XO (XI (XO (XI XH))))))) :: ((Zpos (XI (XI
+    (XI (XO (XO (XI XH))))))) :: ((Zpos (XO (XO (XO (XI (XO (XI
+    XH))))))) :: ((Zpos (XO (XO (XI (XI (XO (XI XH))))))) :: ((Zpos (XI (XO
+    (XO (XI (XO (XI XH))))))) :: ((Zpos (XI (XI (XI (XO (XO (XI
+    XH))))))) :: ((Zpos (XO (XO (XO (XI (XO (XI XH))))))) :: ((Zpos (XO (XO
+    (XI (XO (XI (XI XH))))))) :: ((Zpos (XI (XO (XI (XI (XO
+    XH)))))) :: ((Zpos (XO (XO (XI (XI (XO (XI XH))))))) :: ((Zpos (XI (XO
+    (XO (XI (XO (XI XH))))))) :: ((Zpos (XO (XI (XI (XI (XO (XI
+    XH))))))) :: ((Zpos (XI (XO (XI (XO (XO (XI
+    XH))))))) :: []))))))))))))))))))), (KFlag (((S (S (S (S (S (S (S (S (S
+    (S (S (S (S (S (S (S (S (S (S (S (S (S (S (S (S (S (S (S (S (S (S (S (S
+    (S (S (S (S (S (S (S (S (S (S (S (S (S (S (S (S (S (S (S (S (S (S
+    O))))))))))))))))))))))))))))))))))))))))))))))))))))))), (VI
+    Z0)) :: []))) :: ((((Zpos (XI (XO (XI (XI (XO XH)))))) :: ((Zpos (XI (XO
+    (XI (XI (XO XH)))))) :: ((Zpos (XI (XI (XI (XO (XI (XI
+    XH))))))) :: ((Zpos (XO (XI (XO (XO (XI (XI XH))))))) :: ((Zpos (XI (XO
+    (XO (XO (XO (XI XH))))))) :: ((Zpos (XO (XO (XO (XO (XI (XI
+    XH))))))) :: [])))))), (KFlag (((S (S (S (S (S (S (S (S (S (S (S (S (S (S
+    (S (S (S (S (S (S (S (S (S (S (S (S (S (S (S (S (S (S (S (S (S (S (S (S
+    (S (S (S (S (S (S (S O))))))))))))))))))))))))))))))))))))))))))))), (VI
+    (Zpos XH))) :: []))) :: ((((Zpos (XI (XO (XI (XI (XO XH)))))) :: ((Zpos
+    (XI (XO (XI (XI (XO XH)))))) :: ((Zpos (XO (XI (XI (XI (XO (XI
+    XH))))))) :: ((Zpos (XI (XI (XI (XI (XO (XI XH))))))) :: ((Zpos (XI (XO
+    (XI (XI (XO XH)))))) :: ((Zpos (XI (XI (XI (XO (XI (XI
+    XH))))))) :: ((Zpos (XO (XI (XO (XO (XI (XI XH))))))) :: ((Zpos (XI (XO
+    (XO (XO (XO (XI XH))))))) :: ((Zpos (XO (XO (XO (XO (XI (XI
+    XH))))))) :: []))))))))), (KFlag (((S (S (S (S (S (S (S (S (S (S (S (S (S
+    (S (S (S (S (S (S (S (S (S (S (S (S (S (S (S (S (S (S (S (S (S (S (S (S
+    (S (S (S (S (S (S (S (S O))))))))))))))))))))))))))))))))))))))))))))),
+    (VI Z0)) :: []))) :: ((((Zpos (XI (XO (XI (XI (XO XH)))))) :: ((Zpos (XI
+    (XO (XI (XI (XO XH)))))) :: ((Zpos (XI (XO (XI (XI (XO (XI
+    XH))))))) :: ((Zpos (XI (XO (XI (XO (XI (XI XH))))))) :: ((Zpos (XO (XO
+    (XI (XI (XO (XI XH))))))) :: ((Zpos (XO (XO (XI (XO (XI (XI
+    XH))))))) :: ((Zpos (XI (XO (XO (XI (XO (XI XH))))))) :: ((Zpos (XI (XO
+    (XI (XI (XO XH)))))) :: ((Zpos (XO (XO (XI (XI (XO (XI
+    XH))))))) :: ((Zpos (XI (XO (XO (XI (XO (XI XH))))))) :: ((Zpos (XO (XI
+    (XI (XI (XO (XI XH))))))) :: ((Zpos (XI (XO (XI (XO (XO (XI
+    XH))))))) :: [])))))))))))), (KFlag (((S (S (S (S (S (S (S (S (S (S (S (S
+    (S (S (S (S (S (S (S (S (S (S (S (S (S (S (S (S (S (S (S (S (S (S (S (S
+    (S (S (S (S (S (S (S (S (S (S (S (S (S (S (S (S (S
+    O))))))))))))))))))))))))))))))))))))))))))))))))))))), (VI (Zpos
+    XH))) :: []))) :: ((((Zpos (XI (XO (XI (XI (XO XH)))))) :: ((Zpos (XI (XO
+    (XI (XI (XO XH)))))) :: ((Zpos (XO (XI (XI (XI (XO (XI
+    XH))))))) :: ((Zpos (XI (XI (XI (XI (XO (XI XH))))))) :: ((Zpos (XI (XO
+    (XI (XI (XO XH)))))) :: ((Zpos (XI (XO (XI (XI (XO (XI
+    XH))))))) :: ((Zpos (XI (XO (XI (XO (XI (XI XH))))))) :: ((Zpos (XO (XO
+    (XI (XI (XO (XI XH))))))) :: ((Zpos (XO (XO (XI (XO (XI (XI
+    XH))))))) :: ((Zpos (XI (XO (XO (XI (XO (XI XH))))))) :: ((Zpos (XI (XO
+    (XI (XI (XO XH)))))) :: ((Zpos (XO (XO (XI (XI (XO (XI
+    XH))))))) :: ((Zpos (XI (XO (XO (XI (XO (XI XH))))))) :: ((Zpos (XO (XI
+    (XI (XI (XO (XI XH))))))) :: ((Zpos (XI (XO (XI (XO (XO (XI
+    XH))))))) :: []))))))))))))))), (KFlag (((S (S (S (S (S (S (S (S (S (S (S
+    (S (S (S (S (S (S (S (S (S (S (S (S (S (S (S (S (S (S (S (S (S (S (S (S
+    (S (S (S (S (S (S (S (S (S (S (S (S (S (S (S (S (S (S
+    O))))))))))))))))))))))))))))))))))))))))))))))))))))), (VI
+    Z0)) :: []))) :: ((((Zpos (XI (XO (XI (XI (XO XH)))))) :: ((Zpos (XI (XO
+    (XI (XI (XO XH)))))) :: ((Zpos (XI (XI (XO (XI (XO (XI
+    XH))))))) :: ((Zpos (XI (XO (XI (XO (XO (XI XH))))))) :: ((Zpos (XI (XO
+    (XI (XO (XO (XI XH))))))) :: ((Zpos (XO (XO (XO (XO (XI (XI
+    XH))))))) :: ((Zpos (XI (XO (XI (XI (XO XH)))))) :: ((Zpos (XO (XI (XO
+    (XO (XI (XI XH))))))) :: ((Zpos (XI (XO (XO (XI (XO (XI
+    XH))))))) :: ((Zpos (XI (XI (XI (XO (XO (XI XH))))))) :: ((Zpos (XO (XO
+    (XO (XI (XO (XI XH))))))) :: ((Zpos (XO (XO (XI (XO (XI (XI
+    XH))))))) :: [])))))))))))), (KFlag (((S (S (S (S (S (S (S (S (S (S (S (S
+    (S (S (S (S (S (S (S (S (S (S (S (S (S (S (S (S (S (S (S (S (S (S (S (S
+    (S (S (S (S (S (S (S (S (S (S (S (S (S (S (S (S
+    O)))))))))))))))))))))))))))))))))))))))))))))))))))), (VI (Zpos
+    XH))) :: []))) :: ((((Zpos (XI (XO (XI (XI (XO XH)))))) :: ((Zpos (XI (XO
+    (XI (XI (XO XH)))))) :: ((Zpos (XO (XI (XI (XI (XO (XI
+    XH))))))) :: ((Zpos (XI (XI (XI (XI (XO (XI XH))))))) :: ((Zpos (XI (XO
+    (XI (XI (XO XH)))))) :: ((Zpos (XI (XI (XO (XI (XO (XI
+    XH))))))) :: ((Zpos (XI (XO (XI (XO (XO (XI XH))))))) :: ((Zpos (XI (XO
+    (XI (XO (XO (XI XH))))))) :: ((Zpos (XO (XO (XO (XO (XI (XI
+    XH))))))) :: ((Zpos (XI (XO (XI (XI (XO XH)))))) :: ((Zpos (XO (XI (XO
+    (XO (XI (XI XH))))))) :: ((Zpos (XI (XO (XO (XI (XO (XI
+    XH))))))) :: ((Zpos (XI (XI (XI (XO (XO (XI XH))))))) :: ((Zpos (XO (XO
+    (XO (XI (XO (XI XH))))))) :: ((Zpos (XO (XO (XI (XO (XI (XI
+    XH))))))) :: []))))))))))))))), (KFlag (((S (S (S (S (S (S (S (S (S (S (S
+    (S (S (S (S (S (S (S (S (S (S (S (S (S (S (S (S (S (S (S (S (S (S (S (S
+    (S (S (S (S (S (S (S (S (S (S (S (S (S (S (S (S (S
+    O)))))))))))))))))))))))))))))))))))))))))))))))))))), (VI
+    Z0)) :: []))) :: ((((Zpos (XI (XO (XI (XI (XO XH)))))) :: ((Zpos (XI (XO
+    (XI (XI (XO XH)))))) :: ((Zpos (XO (XO (XO (XI (XO (XI
+    XH))))))) :: ((Zpos (XI (XI (XO (XO (XI (XI XH))))))) :: ((Zpos (XI (XI
+    (XO (XO (XO (XI XH))))))) :: ((Zpos (XO (XI (XO (XO (XI (XI
+    XH))))))) :: ((Zpos (XI (XI (XI (XI (XO (XI XH))))))) :: ((Zpos (XO (XO
+    (XI (XI (XO (XI XH))))))) :: ((Zpos (XO (XO (XI (XI (XO (XI
+    XH))))))) :: []))))))))), (KFlag (((S (S (S (S (S (S (S (S (S (S (S (S (S
+    (S (S (S (S (S (S (S (S (S (S (S (S (S (S (S (S (S (S (S (S (S (S (S (S
+    (S (S (S (S (S (S (S (S (S (S (S (S (S (S
+    O))))))))))))))))))))))))))))))))))))))))))))))))))), (VI (Zpos
+    XH))) :: []))) :: ((((Zpos (XI (XO (XI (XI (XO XH)))))) :: ((Zpos (XI (XO
+    (XI (XI (XO XH)))))) :: ((Zpos (XO (XI (XI (XI (XO (XI
+    XH))))))) :: ((Zpos (XI (XI (XI (XI (XO (XI XH))))))) :: ((Zpos (XI (XO
+    (XI (XI (XO XH)))))) :: ((Zpos (XO (XO (XO (XI (XO (XI
+    XH))))))) :: ((Zpos (XI (XI (XO (XO (XI (XI XH))))))) :: ((Zpos (XI (XI
+    (XO (XO (XO (XI XH))))))) :: ((Zpos (XO (XI (XO (XO (XI (XI
+    XH))))))) :: ((Zpos (XI (XI (XI (XI (XO (XI XH))))))) :: ((Zpos (XO (XO
+    (XI (XI (XO (XI XH))))))) :: ((Zpos (XO (XO (XI (XI (XO (XI
+    XH))))))) :: [])))))))))))), (KFlag (((S (S (S (S (S (S (S (S (S (S (S (S
+    (S (S (S (S (S (S (S (S (S (S (S (S (S (S (S (S (S (S (S (S (S (S (S (S
+    (S (S (S (S (S (S (S (S (S (S (S (S (S (S (S
+    O))))))))))))))))))))))))))))))))))))))))))))))))))), (VI
+    Z0)) :: []))) :: ((((Zpos (XI (XO (XI (XI (XO XH)))))) :: ((Zpos (XI (XO
+    (XI (XI (XO XH)))))) :: ((Zpos (XO (XI (XI (XO (XO (XI
+    XH))))))) :: ((Zpos (XI (XO (XO (XI (XO (XI XH))))))) :: ((Zpos (XO (XO
+    (XI (XI (XO (XI XH))))))) :: ((Zpos (XI (XO (XI (XO (XO (XI
+    XH))))))) :: ((Zpos (XO (XO (XO (XO (XI (XI XH))))))) :: ((Zpos (XI (XO
+    (XO (XO (XO (XI XH))))))) :: ((Zpos (XO (XO (XI (XO (XI (XI
+    XH))))))) :: ((Zpos (XO (XO (XO (XI (XO (XI XH))))))) :: ((Zpos (XI (XO
+    (XI (XI (XO XH)))))) :: ((Zpos (XI (XI (XI (XO (XI (XI
+    XH))))))) :: ((Zpos (XI (XI (XI (XI (XO (XI XH))))))) :: ((Zpos (XO (XI
+    (XO (XO (XI (XI XH))))))) :: ((Zpos (XO (XO (XI (XO (XO (XI
+    XH))))))) :: []))))))))))))))), (KFlag (((S (S (S (S (S (S (S (S (S (S (S
+    (S (S (S (S (S (S (S (S (S (S (S (S (S (S (S (S (S (S (S (S (S (S (S (S
+    (S (S (S (S (S (S (S (S (S (S (S (S (S (S (S (S (S (S (S
+    O)))))))))))))))))))))))))))))))))))))))))))))))))))))), (VI (Zpos
+    XH))) :: []))) :: ((((Zpos (XI (XO (XI (XI (XO XH)))))) :: ((Zpos (XI (XO
+    (XI (XI (XO XH)))))) :: ((Zpos (XO (XI (XI (XI (XO (XI
+    XH))))))) :: ((Zpos (XI (XI (XI (XI (XO (XI XH))))))) :: ((Zpos (XI (XO
+    (XI (XI (XO XH)))))) :: ((Zpos (XO (XI (XI (XO (XO (XI
+    XH))))))) :: ((Zpos (XI (XO (XO (XI (XO (XI XH))))))) :: ((Zpos (XO (XO
+    (XI (XI (XO (XI XH))))))) :: ((Zpos (XI (XO (XI (XO (XO (XI
+    XH))))))) :: ((Zpos (XO (XO (XO (XO (XI (XI XH))))))) :: ((Zpos (XI (XO
+    (XO (XO (XO (XI XH))))))) :: ((Zpos (XO (XO (XI (XO (XI (XI
+    XH))))))) :: ((Zpos (XO (XO (XO (XI (XO (XI XH))))))) :: ((Zpos (XI (XO
+    (XI (XI (XO XH)))))) :: ((Zpos (XI (XI (XI (XO (XI (XI
+    XH))))))) :: ((Zpos (XI (XI (XI (XI (XO (XI XH))))))) :: ((Zpos (XO (XI
+    (XO (XO (XI (XI XH))))))) :: ((Zpos (XO (XO (XI (XO (XO (XI
+    XH))))))) :: [])))))))))))))))))), (KFlag (((S (S (S (S (S (S (S (S (S (S
+    (S (S (S (S (S (S (S (S (S (S (S (S (S (S (S (S (S (S (S (S (S (S (S (S
+    (S (S (S (S (S (S (S (S (S (S (S (S (S (S (S (S (S (S (S (S
+    O)))))))))))))))))))))))))))))))))))))))))))))))))))))), (VI
+    Z0)) :: []))) :: ((((Zpos (XI (XO (XI (XI (XO XH)))))) :: ((Zpos (XI (XO
+    (XI (XI (XO XH)))))) :: ((Zpos (XO (XI (XI (XI (XO (XI
+    XH))))))) :: ((Zpos (XI (XI (XI (XI (XO (XI XH))))))) :: ((Zpos (XI (XO
+    (XI (XI (XO XH)))))) :: ((Zpos (XI (XO (XO (XI (XO (XI
+    XH))))))) :: ((Zpos (XO (XI (XI (XI (XO (XI XH))))))) :: ((Zpos (XO (XI
+    (XI (XO (XO (XI XH))))))) :: ((Zpos (XI (XI (XI (XI (XO (XI
+    XH))))))) :: ((Zpos (XI (XO (XI (XI (XO XH)))))) :: ((Zpos (XI (XI (XO
+    (XO (XO (XI XH))))))) :: ((Zpos (XI (XI (XI (XI (XO (XI
+    XH))))))) :: ((Zpos (XI (XO (XI (XI (XO (XI XH))))))) :: ((Zpos (XI (XO
+    (XI (XI (XO (XI XH))))))) :: ((Zpos (XI (XO (XO (XO (XO (XI
+    XH))))))) :: ((Zpos (XO (XI (XI (XI (XO (XI XH))))))) :: ((Zpos (XO (XO
+    (XI (XO (XO (XI XH))))))) :: []))))))))))))))))), (KFlag (((S (S (S (S (S
+    (S (S (S (S (S (S (S (S (S (S (S (S (S (S (S (S (S (S (S (S (S (S (S (S
+    (S (S (S (S (S (S (S (S (S (S (S (S (S (S (S (S (S (S (S (S (S (S (S (S
+    (S (S (S (S (S (S
+    O))))))))))))))))))))))))))))))))))))))))))))))))))))))))))), (VL
+    [])) :: []))) :: ((((Zpos (XI (XO (XI (XI (XO XH)))))) :: ((Zpos (XI (XO
+    (XO (XO (XI XH)))))) :: [])), (KFlag (((S (S (S (S (S (S (S (S (S (S (S
+    (S (S (S (S (S (S (S (S (S (S (S O)))))))))))))))))))))), (VI (Zpos
+    XH))) :: []))) :: ((((Zpos (XI (XO (XI (XI (XO XH)))))) :: ((Zpos (XI (XO
+    (XI (XI (XO XH)))))) :: ((Zpos (XI (XI (XO (XO (XI (XI
+    XH))))))) :: ((Zpos (XI (XO (XI (XO (XO (XI XH))))))) :: ((Zpos (XO (XO
+    (XI (XI (XO (XI XH))))))) :: ((Zpos (XI (XO (XI (XO (XO (XI
+    XH))))))) :: ((Zpos (XI (XI (XO (XO (XO (XI XH))))))) :: ((Zpos (XO (XO
+    (XI (XO (XI (XI XH))))))) :: ((Zpos (XI (XO (XI (XI (XO
+    XH)))))) :: ((Zpos (XI (XO (XO (XO (XI XH)))))) :: [])))))))))), (KFlag
+    (((S (S (S (S (S (S (S (S (S (S (S (S (S (S (S (S (S (S (S (S (S (S
+    O)))))))))))))))))))))), (VI (Zpos XH))) :: []))) :: ((((Zpos (XI (XI (XO
+    (XI (XO XH)))))) :: ((Zpos (XI (XO (XO (XO (XI XH)))))) :: [])), (KFlag
+    (((S (S (S (S (S (S (S (S (S (S (S (S (S (S (S (S (S (S (S (S (S (S
+    O)))))))))))))))))))))), (VI Z0)) :: []))) :: ((((Zpos (XI (XO (XI (XI
+    (XO XH)))))) :: ((Zpos (XI (XO (XI (XI (XO XH)))))) :: ((Zpos (XO (XI (XI
+    (XI (XO (XI XH))))))) :: ((Zpos (XI (XI (XI (XI (XO (XI
+    XH))))))) :: ((Zpos (XI (XO (XI (XI (XO XH)))))) :: ((Zpos (XI (XI (XO
+    (XO (XI (XI XH))))))) :: ((Zpos (XI (XO (XI (XO (XO (XI
+    XH))))))) :: ((Zpos (XO (XO (XI (XI (XO (XI XH))))))) :: ((Zpos (XI (XO
+    (XI (XO (XO (XI XH))))))) :: ((Zpos (XI (XI (XO (XO (XO (XI
+    XH))))))) :: ((Zpos (XO (XO (XI (XO (XI (XI XH))))))) :: ((Zpos (XI (XO
+    (XI (XI (XO XH)))))) :: ((Zpos (XI (XO (XO (XO (XI
+    XH)))))) :: []))))))))))))), (KFlag (((S (S (S (S (S (S (S (S (S (S (S (S
+    (S (S (S (S (S (S (S (S (S (S O)))))))))))))))))))))), (VI
+    Z0)) :: []))) :: ((((Zpos (XI (XO (XI (XI (XO XH)))))) :: ((Zpos (XO (XO
+    (XO (XO (XI XH)))))) :: [])), (KFlag (((S (S (S (S (S (S (S (S (S (S (S
+    (S (S (S (S (S (S (S (S (S (S (S (S O))))))))))))))))))))))), (VI (Zpos
+    XH))) :: []))) :: ((((Zpos (XI (XO (XI (XI (XO XH)))))) :: ((Zpos (XI (XO
+    (XI (XI (XO XH)))))) :: ((Zpos (XI (XO (XI (XO (XO (XI
+    XH))))))) :: ((Zpos (XO (XO (XO (XI (XI (XI XH))))))) :: ((Zpos (XI (XO
+    (XO (XI (XO (XI XH))))))) :: ((Zpos (XO (XO (XI (XO (XI (XI
+    XH))))))) :: ((Zpos (XI (XO (XI (XI (XO XH)))))) :: ((Zpos (XO (XO (XO
+    (XO (XI XH)))))) :: [])))))))), (KFlag (((S (S (S (S (S (S (S (S (S (S (S
+    (S (S (S (S (S (S (S (S (S (S (S (S O))))))))))))))))))))))), (VI (Zpos
+    XH))) :: []))) :: ((((Zpos (XI (XI (XO (XI (XO XH)))))) :: ((Zpos (XO (XO
+    (XO (XO (XI XH)))))) :: [])), (KFlag (((S (S (S (S (S (S (S (S (S (S (S
+    (S (S (S (S (S (S (S (S (S (S (S (S O))))))))))))))))))))))), (VI
+    Z0)) :: []))) :: ((((Zpos (XI (XO (XI (XI (XO XH)))))) :: ((Zpos (XI (XO
+    (XI (XI (XO XH)))))) :: ((Zpos (XO (XI (XI (XI (XO (XI
+    XH))))))) :: ((Zpos (XI (XI (XI (XI (XO (XI XH))))))) :: ((Zpos (XI (XO
+    (XI (XI (XO XH)))))) :: ((Zpos (XI (XO (XI (XO (XO (XI
+    XH))))))) :: ((Zpos (XO (XO (XO (XI (XI (XI XH))))))) :: ((Zpos (XI (XO
+    (XO (XI (XO (XI XH))))))) :: ((Zpos (XO (XO (XI (XO (XI (XI
+    XH))))))) :: ((Zpos (XI (XO (XI (XI (XO XH)))))) :: ((Zpos (XO (XO (XO
+    (XO (XI XH)))))) :: []))))))))))), (KFlag (((S (S (S (S (S (S (S (S (S (S
+    (S (S (S (S (S (S (S (S (S (S (S (S (S O))))))))))))))))))))))), (VI
+    Z0)) :: []))) :: ((((Zpos (XI (XO (XI (XI (XO XH)))))) :: ((Zpos (XI (XO
+    (XI (XI (XO XH)))))) :: ((Zpos (XO (XI (XO (XO (XI (XI
+    XH))))))) :: ((Zpos (XI (XO (XI (XO (XO (XI XH))))))) :: ((Zpos (XI (XO
+    (XO (XO (XO (XI XH))))))) :: ((Zpos (XO (XO (XI (XO (XO (XI
+    XH))))))) :: ((Zpos (XO (XO (XO (XO (XI XH)))))) :: []))))))), (KFlag
+    (((S (S (S (S (S (S (S (S (S (S (S (S (S (S (S (S (S (S (S (S (S (S (S (S
+    O)))))))))))))))))))))))), (VI (Zpos XH))) :: []))) :: ((((Zpos (XI (XO
+    (XI (XI (XO XH)))))) :: ((Zpos (XI (XO (XI (XI (XO XH)))))) :: ((Zpos (XO
+    (XI (XI (XI (XO (XI XH))))))) :: ((Zpos (XI (XI (XI (XI (XO (XI
+    XH))))))) :: ((Zpos (XI (XO (XI (XI (XO XH)))))) :: ((Zpos (XO (XI (XO
+    (XO (XI (XI XH))))))) :: ((Zpos (XI (XO (XI (XO (XO (XI
+    XH))))))) :: ((Zpos (XI (XO (XO (XO (XO (XI XH))))))) :: ((Zpos (XO (XO
+    (XI (XO (XO (XI XH))))))) :: ((Zpos (XO (XO (XO (XO (XI
+    XH)))))) :: [])))))))))), (KFlag (((S (S (S (S (S (S (S (S (S (S (S (S (S
+    (S (S (S (S (S (S (S (S (S (S (S O)))))))))))))))))))))))), (VI
+    Z0)) :: []))) :: ((((Zpos (XI (XO (XI (XI (XO XH)))))) :: ((Zpos (XI (XO
+    (XI (XI (XO XH)))))) :: ((Zpos (XO (XO (XO (XO (XI (XI
+    XH))))))) :: ((Zpos (XO (XI (XO (XO (XI (XI XH))))))) :: ((Zpos (XI (XO
+    (XO (XI (XO (XI XH))))))) :: ((Zpos (XO (XI (XI (XI (XO (XI
+    XH))))))) :: ((Zpos (XO (XO (XI (XO (XI (XI XH))))))) :: ((Zpos (XO (XO
+    (XO (XO (XI XH)))))) :: [])))))))), (KFlag (((S (S (S (S (S (S (S (S (S
+    (S (S (S (S (S (S (S (S (S (S (S (S (S (S (S (S
+    O))))))))))))))))))))))))), (VI (Zpos XH))) :: []))) :: ((((Zpos (XI (XO
+    (XI (XI (XO XH)))))) :: ((Zpos (XI (XO (XI (XI (XO XH)))))) :: ((Zpos (XO
+    (XI (XI (XI (XO (XI XH))))))) :: ((Zpos (XI (XI (XI (XI (XO (XI
+    XH))))))) :: ((Zpos (XI (XO (XI (XI (XO XH)))))) :: ((Zpos (XO (XO (XO
+    (XO (XI (XI XH))))))) :: ((Zpos (XO (XI (XO (XO (XI (XI
+    XH))))))) :: ((Zpos (XI (XO (XO (XI (XO (XI XH))))))) :: ((Zpos (XO (XI
+    (XI (XI (XO (XI XH))))))) :: ((Zpos (XO (XO (XI (XO (XI (XI
+    XH))))))) :: ((Zpos (XO (XO (XO (XO (XI XH)))))) :: []))))))))))), (KFlag
+    (((S (S (S (S (S (S (S (S (S (S (S (S (S (S (S (S (S (S (S (S (S (S (S (S
+    (S O))))))))))))))))))))))))), (VI Z0)) :: []))) :: ((((Zpos (XI (XO (XI
+    (XI (XO XH)))))) :: ((Zpos (XI (XO (XI (XI (XO XH)))))) :: ((Zpos (XO (XO
+    (XO (XO (XI (XI XH))))))) :: ((Zpos (XO (XI (XO (XO (XI (XI
+    XH))))))) :: ((Zpos (XI (XO (XO (XI (XO (XI XH))))))) :: ((Zpos (XO (XI
+    (XI (XI (XO (XI XH))))))) :: ((Zpos (XO (XO (XI (XO (XI (XI
+    XH))))))) :: ((Zpos (XI (XO (XI (XI (XO XH)))))) :: ((Zpos (XI (XO (XO
+    (XO (XI (XI XH))))))) :: ((Zpos (XI (XO (XI (XO (XI (XI
+    XH))))))) :: ((Zpos (XI (XO (XI (XO (XO (XI XH))))))) :: ((Zpos (XO (XI
+    (XO (XO (XI (XI XH))))))) :: ((Zpos (XI (XO (XO (XI (XI (XI
+    XH))))))) :: []))))))))))))), (KFlag (((S (S (S (S (S (S (S (S (S (S (S
+    (S (S (S (S (S (S (S (S (S (S (S (S (S (S (S O)))))))))))))))))))))))))),
+    (VI (Zpos XH))) :: []))) :: ((((Zpos (XI (XO (XI (XI (XO
+    XH)))))) :: ((Zpos (XI (XO (XI (XI (XO XH)))))) :: ((Zpos (XO (XI (XI (XI
+    (XO (XI XH))))))) :: ((Zpos (XI (XI (XI (XI (XO (XI XH))))))) :: ((Zpos
+    (XI (XO (XI (XI (XO XH)))))) :: ((Zpos (XO (XO (XO (XO (XI (XI
+    XH))))))) :: ((Zpos (XO (XI (XO (XO (XI (XI XH))))))) :: ((Zpos (XI (XO
+    (XO (XI (XO (XI XH))))))) :: ((Zpos (XO (XI (XI (XI (XO (XI
+    XH))))))) :: ((Zpos (XO (XO (XI (XO (XI (XI XH))))))) :: ((Zpos (XI (XO
+    (XI (XI (XO XH)))))) :: ((Zpos (XI (XO (XO (XO (XI (XI
+    XH))))))) :: ((Zpos (XI (XO (XI (XO (XI (XI XH))))))) :: ((Zpos (XI (XO
+    (XI (XO (XO (XI XH))))))) :: ((Zpos (XO (XI (XO (XO (XI (XI
+    XH))))))) :: ((Zpos (XI (XO (XO (XI (XI (XI
+    XH))))))) :: [])))))))))))))))), (KFlag (((S (S (S (S (S (S (S (S (S (S
+    (S (S (S (S (S (S (S (S (S (S (S (S (S (S (S (S
+    O)))))))))))))))))))))))))), (VI Z0)) :: []))) :: ((((Zpos (XI (XO (XI
+    (XI (XO XH)))))) :: ((Zpos (XI (XO (XI (XI (XO XH)))))) :: ((Zpos (XI (XI
+    (XO (XO (XI (XI XH))))))) :: ((Zpos (XI (XO (XO (XI (XI (XI
+    XH))))))) :: ((Zpos (XO (XI (XI (XI (XO (XI XH))))))) :: ((Zpos (XI (XI
+    (XO (XO (XO (XI XH))))))) :: [])))))), (KFlag (((S (S (S (S (S (S (S (S
+    (S (S (S (S (S (S (S (S (S (S (S (S (S (S (S (S (S (S (S (S (S
+    O))))))))))))))))))))))))))))), (VI (Zpos XH))) :: []))) :: ((((Zpos (XI
+    (XO (XI (XI (XO XH)))))) :: ((Zpos (XI (XO (XI (XI (XO XH)))))) :: ((Zpos
+    (XO (XI (XI (XI (XO (XI XH))))))) :: ((Zpos (XI (XI (XI (XI (XO (XI
+    XH))))))) :: ((Zpos (XI (XO (XI (XI (XO XH)))))) :: ((Zpos (XI (XI (XO
+    (XO (XI (XI XH))))))) :: ((Zpos (XI (XO (XO (XI (XI (XI
+    XH))))))) :: ((Zpos (XO (XI (XI (XI (XO (XI XH))))))) :: ((Zpos (XI (XI
+    (XO (XO (XO (XI XH))))))) :: []))))))))), (KFlag (((S (S (S (S (S (S (S
+    (S (S (S (S (S (S (S (S (S (S (S (S (S (S (S (S (S (S (S (S (S (S
+    O))))))))))))))))))))))))))))), (VI Z0)) :: []))) :: ((((Zpos (XI (XO (XI
+    (XI (XO XH)))))) :: ((Zpos (XI (XO (XI (XI (XO XH)))))) :: ((Zpos (XI (XO
+    (XO (XO (XO (XI XH))))))) :: ((Zpos (XI (XI (XO (XO (XI (XI
+    XH))))))) :: ((Zpos (XI (XO (XO (XI (XI (XI XH))))))) :: ((Zpos (XO (XI
+    (XI (XI (XO (XI XH))))))) :: ((Zpos (XI (XI (XO (XO (XO (XI
+    XH))))))) :: []))))))), (KFlag (((S (S (S (S (S (S (S (S (S (S (S (S (S
+    (S (S (S (S (S (S (S (S (S (S (S (S (S (S (S (S
+    O))))))))))))))))))))))))))))), (VI Z0)) :: []))) :: ((((Zpos (XI (XO (XI
+    (XI (XO XH)))))) :: ((Zpos (XI (XO (XI (XI (XO XH)))))) :: ((Zpos (XO (XI
+    (XI (XI (XO (XI XH))))))) :: ((Zpos (XI (XI (XI (XI (XO (XI
+    XH))))))) :: ((Zpos (XI (XO (XI (XI (XO XH)))))) :: ((Zpos (XO (XO (XO
+    (XI (XO (XI XH))))))) :: ((Zpos (XI (XO (XO (XI (XO (XI
+    XH))))))) :: ((Zpos (XI (XI (XO (XO (XI (XI XH))))))) :: ((Zpos (XO (XO
+    (XI (XO (XI (XI XH))))))) :: ((Zpos (XI (XI (XI (XI (XO (XI
+    XH))))))) :: ((Zpos (XO (XI (XO (XO (XI (XI XH))))))) :: ((Zpos (XI (XO
+    (XO (XI (XI (XI XH))))))) :: [])))))))))))), (KFlag (((S (S (S (S (S (S
+    (S (S (S (S (S (S (S (S (S (S (S (S (S (S (S (S (S (S (S (S (S (S (S (S
+    O)))))))))))))))))))))))))))))), (VL [])) :: []))) :: ((((Zpos (XI (XO
+    (XI (XI (XO XH)))))) :: ((Zpos (XI (XO (XI (XI (XO XH)))))) :: ((Zpos (XO
+    (XI (XI (XI (XO (XI XH))))))) :: ((Zpos (XI (XI (XI (XI (XO (XI
+    XH))))))) :: ((Zpos (XI (XO (XI (XI (XO XH)))))) :: ((Zpos (XO (XO (XO
+    (XI (XO (XI XH))))))) :: ((Zpos (XI (XO (XI (XO (XO (XI
+    XH))))))) :: ((Zpos (XI (XO (XO (XO (XO (XI XH))))))) :: ((Zpos (XO (XO
+    (XI (XO (XO (XI XH))))))) :: ((Zpos (XI (XO (XI (XO (XO (XI
+    XH))))))) :: ((Zpos (XO (XI (XO (XO (XI (XI XH))))))) :: []))))))))))),
+    (KFlag (((S (S (S (S (S (S (S (S (S (S (S (S (S (S (S (S (S (S (S (S (S
+    (S (S (S (S (S (S (S (S (S (S (S O)))))))))))))))))))))))))))))))), (VL
+    [])) :: []))) :: ((((Zpos (XI (XO (XI (XI (XO XH)))))) :: ((Zpos (XI (XO
+    (XI (XI (XO XH)))))) :: ((Zpos (XO (XI (XI (XI (XO (XI
+    XH))))))) :: ((Zpos (XI (XI (XI (XI (XO (XI XH))))))) :: ((Zpos (XI (XO
+    (XI (XI (XO XH)))))) :: ((Zpos (XO (XO (XO (XI (XO (XI
+    XH))))))) :: ((Zpos (XI (XO (XI (XO (XO (XI XH))))))) :: ((Zpos (XI (XO
+    (XO (XO (XO (XI XH))))))) :: ((Zpos (XO (XO (XI (XO (XO (XI
+    XH))))))) :: ((Zpos (XI (XO (XI (XO (XO (XI XH))))))) :: ((Zpos (XO (XI
+    (XO (XO (XI (XI XH))))))) :: ((Zpos (XI (XO (XI (XI (XO
+    XH)))))) :: ((Zpos (XO (XO (XI (XI (XO (XI XH))))))) :: ((Zpos (XI (XO
+    (XO (XI (XO (XI XH))))))) :: ((Zpos (XO (XI (XI (XI (XO (XI
+    XH))))))) :: ((Zpos (XI (XO (XI (XO (XO (XI XH))))))) :: ((Zpos (XI (XI
+    (XO (XO (XI (XI XH))))))) :: []))))))))))))))))), (KFlag (((S (S (S (S (S
+    (S (S (S (S (S (S (S (S (S (S (S (S (S (S (S (S (S (S (S (S (S (S (S (S
+    (S (S (S (S O))))))))))))))))))))))))))))))))), (VI
+    Z0)) :: []))) :: ((((Zpos (XI (XO (XI (XI (XO XH)))))) :: ((Zpos (XI (XO
+    (XI (XI (XO XH)))))) :: ((Zpos (XO (XO (XO (XI (XO (XI
+    XH))))))) :: ((Zpos (XI (XO (XI (XO (XO (XI XH))))))) :: ((Zpos (XI (XO
+    (XO (XO (XO (XI XH))))))) :: ((Zpos (XO (XO (XI (XO (XO (XI
+    XH))))))) :: ((Zpos (XI (XO (XI (XO (XO (XI XH))))))) :: ((Zpos (XO (XI
+    (XO (XO (XI (XI XH))))))) :: ((Zpos (XI (XO (XI (XI (XO
+    XH)))))) :: ((Zpos (XO (XI (XI (XO (XO (XI XH))))))) :: ((Zpos (XI (XO
+    (XO (XI (XO (XI XH))))))) :: ((Zpos (XO (XI (XO (XO (XI (XI
+    XH))))))) :: ((Zpos (XI (XI (XO (XO (XI (XI XH))))))) :: ((Zpos (XO (XO
+    (XI (XO (XI (XI XH))))))) :: [])))))))))))))), (KFlag (((S (S (S (S (S (S
+    (S (S (S (S (S (S (S (S (S (S (S (S (S (S (S (S (S (S (S (S (S (S (S (S
+    (S (S (S (S (S (S (S (S (S (S (S (S (S (S (S (S (S (S (S (S
+    O)))))))))))))))))))))))))))))))))))))))))))))))))), (VI (Zpos
+    XH))) :: []))) :: ((((Zpos (XI (XO (XI (XI (XO XH)))))) :: ((Zpos (XI (XO
+    (XI (XI (XO XH)))))) :: ((Zpos (XO (XI (XI (XI (XO (XI
+    XH))))))) :: ((Zpos (XI (XI (XI (XI (XO (XI XH))))))) :: ((Zpos (XI (XO
+    (XI (XI (XO XH)))))) :: ((Zpos (XO (XO (XO (XI (XO (XI
+    XH))))))) :: ((Zpos (XI (XO (XI (XO (XO (XI XH))))))) :: ((Zpos (XI (XO
+    (XO (XO (XO (XI XH))))))) :: ((Zpos (XO (XO (XI (XO (XO (XI
+    XH))))))) :: ((Zpos (XI (XO (XI (XO (XO (XI XH))))))) :: ((Zpos (XO (XI
+    (XO (XO (XI (XI XH))))))) :: ((Zpos (XI (XO (XI (XI (XO
+    XH)))))) :: ((Zpos (XO (XI (XI (XO (XO (XI XH))))))) :: ((Zpos (XI (XO
+    (XO (XI (XO (XI XH))))))) :: ((Zpos (XO (XI (XO (XO (XI (XI
+    XH))))))) :: ((Zpos (XI (XI (XO (XO (XI (XI XH))))))) :: ((Zpos (XO (XO
+    (XI (XO (XI (XI XH))))))) :: []))))))))))))))))), (KFlag (((S (S (S (S (S
+    (S (S (S (S (S (S (S (S (S (S (S (S (S (S (S (S (S (S (S (S (S (S (S (S
+    (S (S (S (S (S (S (S (S (S (S (S (S (S (S (S (S (S (S (S (S (S
+    O)))))))))))))))))))))))))))))))))))))))))))))))))), (VI
+    Z0)) :: []))) :: ((((Zpos (XI (XO (XI (XI (XO XH)))))) :: ((Zpos (XI (XO
+    (XI (XI (XO XH)))))) :: ((Zpos (XO (XI (XI (XI (XO (XI
+    XH))))))) :: ((Zpos (XI (XI (XI (XI (XO (XI XH))))))) :: ((Zpos (XI (XO
+    (XI (XI (XO XH)))))) :: ((Zpos (XI (XI (XI (XO (XO (XI
+    XH))))))) :: ((Zpos (XI (XO (XO (XO (XO (XI XH))))))) :: ((Zpos (XO (XO
+    (XO (XO (XI (XI XH))))))) :: [])))))))), (KFlag (((S (S (S (S (S (S (S (S
+    (S (S (S (S (S (S (S (S (S (S (S (S (S (S (S (S (S (S (S (S (S (S (S (S
+    (S (S (S (S (S (S (S (S (S (S (S (S
+    O)))))))))))))))))))))))))))))))))))))))))))), (VI
+    Z0)) :: []))) :: ((((Zpos (XI (XO (XI (XI (XO XH)))))) :: ((Zpos (XI (XO
+    (XI (XI (XO XH)))))) :: ((Zpos (XO (XI (XI (XI (XO (XI
+    XH))))))) :: ((Zpos (XI (XI (XI (XI (XO (XI XH))))))) :: ((Zpos (XI (XO
+    (XI (XI (XO XH)))))) :: ((Zpos (XO (XO (XO (XO (XI (XI
+    XH))))))) :: ((Zpos (XO (XI (XO (XO (XI (XI XH))))))) :: ((Zpos (XI (XO
+    (XI (XO (XO (XI XH))))))) :: ((Zpos (XO (XI (XI (XO (XI (XI
+    XH))))))) :: ((Zpos (XI (XO (XO (XI (XO (XI XH))))))) :: ((Zpos (XI (XO
+    (XI (XO (XO (XI XH))))))) :: ((Zpos (XI (XI (XI (XO (XI (XI
+    XH))))))) :: [])))))))))))), (KFlag (((S (S (S (S (S (S (S (S (S (S (S (S
+    (S (S (S (S (S (S (S (S (S (S (S (S (S (S (S (S (S (S (S (S (S (S (S (S
+    (S (S (S (S (S (S (S (S (S (S (S (S (S (S (S (S (S (S (S (S (S (S (S (S
+    (S O))))))))))))))))))))))))))))))))))))))))))))))))))))))))))))), (VL
+    [])) :: []))) :: ((((Zpos (XI (XO (XI (XI (XO XH)))))) :: ((Zpos (XI (XO
+    (XI (XI (XO XH)))))) :: ((Zpos (XO (XI (XI (XI (XO (XI
+    XH))))))) :: ((Zpos (XI (XI (XI (XI (XO (XI XH))))))) :: ((Zpos (XI (XO
+    (XI (XI (XO XH)))))) :: ((Zpos (XO (XO (XO (XI (XO (XI
+    XH))))))) :: ((Zpos (XI (XO (XI (XO (XO (XI XH))))))) :: ((Zpos (XI (XO
+    (XO (XI (XO (XI XH))))))) :: ((Zpos (XI (XI (XI (XO (XO (XI
+    XH))))))) :: ((Zpos (XO (XO (XO (XI (XO (XI XH))))))) :: ((Zpos (XO (XO
+    (XI (XO (XI (XI XH))))))) :: []))))))))))), (KFlag (((S (S (S (S (S (S (S
+    (S (S (S (S (S (S (S (S (S (S (S (S (S (S O))))))))))))))))))))), (VL
+    ((VI Z0) :: ((VI Z0) :: ((VI Z0) :: ((VI
+    Z0) :: [])))))) :: []))) :: ((((Zpos (XI (XO (XI (XI (XO
+    XH)))))) :: ((Zpos (XI (XO (XI (XI (XO XH)))))) :: ((Zpos (XI (XO (XI (XO
+    (XI (XI XH))))))) :: ((Zpos (XO (XI (XI (XI (XO (XI XH))))))) :: ((Zpos
+    (XI (XO (XO (XI (XO (XI XH))))))) :: ((Zpos (XI (XI (XO (XO (XO (XI
+    XH))))))) :: ((Zpos (XI (XI (XI (XI (XO (XI XH))))))) :: ((Zpos (XO (XO
+    (XI (XO (XO (XI XH))))))) :: ((Zpos (XI (XO (XI (XO (XO (XI
+    XH))))))) :: []))))))))), (KFlag (((S (S (S (S (S (S (S (S (S (S (S (S (S
+    (S (S (S (S (S (S (S (S (S (S (S (S (S (S (S (S (S (S (S (S (S (S (S (S
+    (S (S (S (S (S (S (S (S (S (S (S (S (S (S (S (S (S (S (S (S
+    O))))))))))))))))))))))))))))))))))))))))))))))))))))))))), (VI (Zpos
+    XH))) :: []))) :: ((((Zpos (XI (XO (XI (XI (XO XH)))))) :: ((Zpos (XI (XO
+    (XI (XI (XO XH)))))) :: ((Zpos (XO (XI (XI (XI (XO (XI
+    XH))))))) :: ((Zpos (XI (XI (XI (XI (XO (XI XH))))))) :: ((Zpos (XI (XO
+    (XI (XI (XO XH)))))) :: ((Zpos (XI (XO (XI (XO (XI (XI
+    XH))))))) :: ((Zpos (XO (XI (XI (XI (XO (XI XH))))))) :: ((Zpos (XI (XO
+    (XO (XI (XO (XI XH))))))) :: ((Zpos (XI (XI (XO (XO (XO (XI
+    XH))))))) :: ((Zpos (XI (XI (XI (XI (XO (XI XH))))))) :: ((Zpos (XO (XO
+    (XI (XO (XO (XI XH))))))) :: ((Zpos (XI (XO (XI (XO (XO (XI
+    XH))))))) :: [])))))))))))), (KFlag (((S (S (S (S (S (S (S (S (S (S (S (S
+    (S (S (S (S (S (S (S (S (S (S (S (S (S (S (S (S (S (S (S (S (S (S (S (S
+    (S (S (S (S (S (S (S (S (S (S (S (S (S (S (S (S (S (S (S (S (S
+    O))))))))))))))))))))))))))))))))))))))))))))))))))))))))), (VI
+    Z0)) :: []))) :: ((((Zpos (XI (XO (XI (XI (XO XH)))))) :: ((Zpos (XI (XO
+    (XI (XI (XO XH)))))) :: ((Zpos (XI (XO (XO (XO (XO (XI
+    XH))))))) :: ((Zpos (XI (XO (XI (XI (XO (XI XH))))))) :: ((Zpos (XO (XI
+    (XO (XO (XO (XI XH))))))) :: ((Zpos (XI (XO (XO (XI (XO (XI
+    XH))))))) :: ((Zpos (XO (XO (XI (XO (XO (XI XH))))))) :: ((Zpos (XI (XI
+    (XI (XI (XO (XI XH))))))) :: ((Zpos (XI (XO (XI (XO (XI (XI
+    XH))))))) :: ((Zpos (XO (XI (XO (XO (XO (XI XH))))))) :: ((Zpos (XO (XO
+    (XI (XI (XO (XI XH))))))) :: ((Zpos (XI (XO (XI (XO (XO (XI
+    XH))))))) :: [])))))))))))), (KFlag (((S (S (S (S (S (S (S (S (S (S (S (S
+    (S (S (S (S (S (S (S (S (S (S (S (S (S (S (S (S (S (S (S (S (S (S (S (S
+    (S (S (S (S (S (S (S (S (S (S (S (S (S (S (S (S (S (S (S (S (S (S
+    O)))))))))))))))))))))))))))))))))))))))))))))))))))))))))), (VI (Zpos
+    XH))) :: []))) :: ((((Zpos (XI (XO (XI (XI (XO XH)))))) :: ((Zpos (XI (XO
+    (XI (XI (XO XH)))))) :: ((Zpos (XO (XI (XI (XI (XO (XI
+    XH))))))) :: ((Zpos (XI (XI (XI (XI (XO (XI XH))))))) :: ((Zpos (XI (XO
+    (XI (XI (XO XH)))))) :: ((Zpos (XI (XO (XO (XO (XO (XI
+    XH))))))) :: ((Zpos (XI (XO (XI (XI (XO (XI XH))))))) :: ((Zpos (XO (XI
+    (XO (XO (XO (XI XH))))))) :: ((Zpos (XI (XO (XO (XI (XO (XI
+    XH))))))) :: ((Zpos (XO (XO (XI (XO (XO (XI XH))))))) :: ((Zpos (XI (XI
+    (XI (XI (XO (XI XH))))))) :: ((Zpos (XI (XO (XI (XO (XI (XI
+    XH))))))) :: ((Zpos (XO (XI (XO (XO (XO (XI XH))))))) :: ((Zpos (XO (XO
+    (XI (XI (XO (XI XH))))))) :: ((Zpos (XI (XO (XI (XO (XO (XI
+    XH))))))) :: []))))))))))))))), (KFlag (((S (S (S (S (S (S (S (S (S (S (S
+    (S (S (S (S (S (S (S (S (S (S (S (S (S (S (S (S (S (S (S (S (S (S (S (S
+    (S (S (S (S (S (S (S (S (S (S (S (S (S (S (S (S (S (S (S (S (S (S (S
+    O)))))))))))))))))))))))))))))))))))))))))))))))))))))))))), (VI
+    Z0)) :: []))) :: ((((Zpos (XI (XO (XI (XI (XO XH)))))) :: ((Zpos (XI (XO
+    (XI (XI (XO XH)))))) :: ((Zpos (XO (XI (XI (XI (XO (XI
+    XH))))))) :: ((Zpos (XI (XI (XI (XI (XO (XI XH))))))) :: ((Zpos (XI (XO
+    (XI (XI (XO XH)))))) :: ((Zpos (XO (XO (XI (XI (XO (XI
+    XH))))))) :: ((Zpos (XI (XO (XO (XI (XO (XI XH))))))) :: ((Zpos (XI (XI
+    (XO (XO (XI (XI XH))))))) :: ((Zpos (XO (XO (XI (XO (XI (XI
+    XH))))))) :: ((Zpos (XI (XO (XI (XO (XO (XI XH))))))) :: ((Zpos (XO (XI
+    (XI (XI (XO (XI XH))))))) :: []))))))))))), (KFlag (((S (S (S (S (S (S (S
+    (S (S (S (S (S (S (S (S (S (S (S (S (S (S (S (S (S (S (S (S (S (S (S (S
+    (S (S (S O)))))))))))))))))))))))))))))))))), (VL [])) :: (((S (S (S (S
+    (S (S (S (S (S (S (S (S (S (S (S (S (S (S (S (S (S (S (S (S (S (S (S (S
+    (S (S (S (S (S (S (S O))))))))))))))))))))))))))))))))))), (VI
+    Z0)) :: [])))) :: ((((Zpos (XI (XO (XI (XI (XO XH)))))) :: ((Zpos (XI (XO
+    (XI (XI (XO XH)))))) :: ((Zpos (XO (XI (XI (XI (XO (XI
+    XH))))))) :: ((Zpos (XI (XI (XI (XI (XO (XI XH))))))) :: ((Zpos (XI (XO
+    (XI (XI (XO XH)))))) :: ((Zpos (XO (XO (XI (XI (XO (XI
+    XH))))))) :: ((Zpos (XI (XO (XO (XI (XO (XI XH))))))) :: ((Zpos (XI (XI
+    (XO (XO (XI (XI XH))))))) :: ((Zpos (XO (XO (XI (XO (XI (XI
+    XH))))))) :: ((Zpos (XI (XO (XI (XO (XO (XI XH))))))) :: ((Zpos (XO (XI
+    (XI (XI (XO (XI XH))))))) :: ((Zpos (XI (XO (XI (XI (XO
+    XH)))))) :: ((Zpos (XI (XO (XI (XO (XI (XI XH))))))) :: ((Zpos (XO (XI
+    (XI (XI (XO (XI XH))))))) :: ((Zpos (XI (XI (XO (XO (XI (XI
+    XH))))))) :: ((Zpos (XI (XO (XO (XO (XO (XI XH))))))) :: ((Zpos (XO (XI
+    (XI (XO (XO (XI XH))))))) :: ((Zpos (XI (XO (XI (XO (XO (XI
+    XH))))))) :: [])))))))))))))))))), (KFlag (((S (S (S (S (S (S (S (S (S (S
+    (S (S (S (S (S (S (S (S (S (S (S (S (S (S (S (S (S (S (S (S (S (S (S (S
+    O)))))))))))))))))))))))))))))))))), (VL [])) :: (((S (S (S (S (S (S (S
+    (S (S (S (S (S (S (S (S (S (S (S (S (S (S (S (S (S (S (S (S (S (S (S (S
+    (S (S (S (S O))))))))))))))))))))))))))))))))))), (VI
+    Z0)) :: [])))) :: ((((Zpos (XI (XO (XI (XI (XO XH)))))) :: ((Zpos (XI (XO
+    (XI (XI (XO XH)))))) :: ((Zpos (XI (XI (XO (XO (XO (XI
+    XH))))))) :: ((Zpos (XO (XO (XI (XI (XO (XI XH))))))) :: ((Zpos (XI (XO
+    (XI (XO (XO (XI XH))))))) :: ((Zpos (XI (XO (XO (XO (XO (XI
+    XH))))))) :: ((Zpos (XO (XI (XO (XO (XI (XI XH))))))) :: []))))))),
+    (KFlag (((S (S (S (S (S (S (S (S (S (S (S (S (S (S (S (S (S (S (S (S (S
+    (S (S (S (S (S (S (S (S (S (S (S (S (S (S (S (S (S (S (S (S (S (S (S (S
+    (S (S (S (S (S (S (S (S (S (S (S
+    O)))))))))))))))))))))))))))))))))))))))))))))))))))))))), (VI (Zpos
+    XH))) :: []))) :: ((((Zpos (XI (XO (XI (XI (XO XH)))))) :: ((Zpos (XI (XO
+    (XI (XI (XO XH)))))) :: ((Zpos (XO (XI (XI (XI (XO (XI
+    XH))))))) :: ((Zpos (XI (XI (XI (XI (XO (XI XH))))))) :: ((Zpos (XI (XO
+    (XI (XI (XO XH)))))) :: ((Zpos (XI (XI (XO (XO (XO (XI
+    XH))))))) :: ((Zpos (XO (XO (XI (XI (XO (XI XH))))))) :: ((Zpos (XI (XO
+    (XI (XO (XO (XI XH))))))) :: ((Zpos (XI (XO (XO (XO (XO (XI
+    XH))))))) :: ((Zpos (XO (XI (XO (XO (XI (XI XH))))))) :: [])))))))))),
+    (KFlag (((S (S (S (S (S (S (S (S (S (S (S (S (S (S (S (S (S (S (S (S (S
+    (S (S (S (S (S (S (S (S (S (S (S (S (S (S (S (S (S (S (S (S (S (S (S (S
+    (S (S (S (S (S (S (S (S (S (S (S
+    O)))))))))))))))))))))))))))))))))))))))))))))))))))))))), (VI
+    Z0)) :: []))) :: ((((Zpos (XI (XO (XI (XI (XO XH)))))) :: ((Zpos (XI (XO
+    (XI (XI (XO XH)))))) :: ((Zpos (XO (XI (XI (XO (XO (XI
+    XH))))))) :: ((Zpos (XI (XI (XI (XI (XO (XI XH))))))) :: ((Zpos (XO (XI
+    (XO (XO (XI (XI XH))))))) :: ((Zpos (XI (XI (XO (XO (XO (XI
+    XH))))))) :: ((Zpos (XI (XO (XI (XO (XO (XI XH))))))) :: ((Zpos (XI (XO
+    (XI (XI (XO XH)))))) :: ((Zpos (XO (XO (XI (XO (XI (XI
+    XH))))))) :: ((Zpos (XO (XO (XI (XO (XI (XI XH))))))) :: ((Zpos (XI (XO
+    (XO (XI (XI (XI XH))))))) :: ((Zpos (XI (XO (XI (XI (XO
+    XH)))))) :: ((Zpos (XI (XO (XO (XI (XO (XI XH))))))) :: ((Zpos (XO (XI
+    (XI (XI (XO (XI XH))))))) :: [])))))))))))))), (KFlag (((S (S (S (S (S (S
+    (S (S (S (S (S (S (S (S (S (S (S (S (S (S (S (S (S (S (S (S (S (S (S (S
+    (S (S (S (S (S (S (S (S (S (S (S (S (S (S (S (S (S (S (S (S (S (S (S (S
+    (S (S (S (S (S (S (S (S
+    O)))))))))))))))))))))))))))))))))))))))))))))))))))))))))))))), (VI
+    (Zpos XH))) :: []))) :: ((((Zpos (XI (XO (XI (XI (XO XH)))))) :: ((Zpos
+    (XI (XO (XI (XI (XO XH)))))) :: ((Zpos (XO (XI (XI (XI (XO (XI
+    XH))))))) :: ((Zpos (XI (XI (XI (XI (XO (XI XH))))))) :: ((Zpos (XI (XO
+    (XI (XI (XO XH)))))) :: ((Zpos (XO (XI (XI (XO (XO (XI
+    XH))))))) :: ((Zpos (XI (XI (XI (XI (XO (XI XH))))))) :: ((Zpos (XO (XI
+    (XO (XO (XI (XI XH))))))) :: ((Zpos (XI (XI (XO (XO (XO (XI
+    XH))))))) :: ((Zpos (XI (XO (XI (XO (XO (XI XH))))))) :: ((Zpos (XI (XO
+    (XI (XI (XO XH)))))) :: ((Zpos (XO (XO (XI (XO (XI (XI
+    XH))))))) :: ((Zpos (XO (XO (XI (XO (XI (XI XH))))))) :: ((Zpos (XI (XO
+    (XO (XI (XI (XI XH))))))) :: ((Zpos (XI (XO (XI (XI (XO
+    XH)))))) :: ((Zpos (XI (XO (XO (XI (XO (XI XH))))))) :: ((Zpos (XO (XI
+    (XI (XI (XO (XI XH))))))) :: []))))))))))))))))), (KFlag (((S (S (S (S (S
+    (S (S (S (S (S (S (S (S (S (S (S (S (S (S (S (S (S (S (S (S (S (S (S (S
+    (S (S (S (S (S (S (S (S (S (S (S (S (S (S (S (S (S (S (S (S (S (S (S (S
+    (S (S (S (S (S (S (S (S (S
+    O)))))))))))))))))))))))))))))))))))))))))))))))))))))))))))))), (VI
+    Z0)) :: []))) :: ((((Zpos (XI (XO (XI (XI (XO XH)))))) :: ((Zpos (XI (XO
+    (XI (XI (XO XH)))))) :: [])), (KFlag [])) :: ((((Zpos (XI (XO (XI (XI (XO
+    XH)))))) :: ((Zpos (XI (XO (XI (XI (XO XH)))))) :: ((Zpos (XI (XO (XI (XI
+    (XO (XI XH))))))) :: ((Zpos (XI (XO (XO (XO (XO (XI XH))))))) :: ((Zpos
+    (XO (XI (XI (XI (XO (XI XH))))))) :: []))))), (KFlag (((S (S (S (S (S (S
+    (S (S (S (S (S (S (S (S (S (S (S (S (S (S (S (S (S (S (S (S (S (S (S (S
+    (S (S (S (S (S (S (S (S (S (S (S (S (S (S (S (S (S (S (S
+    O))))))))))))))))))))))))))))))))))))))))))))))))), (VI (Zpos (XO (XI
+    XH))))) :: []))) :: ((((Zpos (XI (XO (XI (XI (XO XH)))))) :: ((Zpos (XI
+    (XO (XI (XI (XO XH)))))) :: ((Zpos (XO (XI (XO (XO (XO (XI
+    XH))))))) :: ((Zpos (XI (XO (XO (XO (XO (XI XH))))))) :: ((Zpos (XI (XI
+    (XO (XO (XI (XI XH))))))) :: ((Zpos (XO (XO (XO (XI (XO (XI
+    XH))))))) :: [])))))), (KFlag (((S (S (S (S (S (S (S (S (S (S (S (S (S (S
+    (S (S (S (S (S (S (S (S (S (S (S (S (S (S (S (S (S (S (S (S (S (S (S (S
+    (S (S (S (S (S (S (S (S (S (S (S
+    O))))))))))))))))))))))))))))))))))))))))))))))))), (VI (Zpos
+    XH))) :: []))) :: ((((Zpos (XI (XO (XI (XI (XO XH)))))) :: ((Zpos (XI (XO
+    (XI (XI (XO XH)))))) :: ((Zpos (XO (XI (XO (XI (XI (XI
+    XH))))))) :: ((Zpos (XI (XI (XO (XO (XI (XI XH))))))) :: ((Zpos (XO (XO
+    (XO (XI (XO (XI XH))))))) :: []))))), (KFlag (((S (S (S (S (S (S (S (S (S
+    (S (S (S (S (S (S (S (S (S (S (S (S (S (S (S (S (S (S (S (S (S (S (S (S
+    (S (S (S (S (S (S (S (S (S (S (S (S (S (S (S (S
+    O))))))))))))))))))))))))))))))))))))))))))))))))), (VI (Zpos (XO
+    XH)))) :: []))) :: ((((Zpos (XI (XO (XI (XI (XO XH)))))) :: ((Zpos (XI
+    (XO (XI (XI (XO XH)))))) :: ((Zpos (XO (XI (XI (XO (XO (XI
+    XH))))))) :: ((Zpos (XI (XO (XO (XI (XO (XI XH))))))) :: ((Zpos (XI (XI
+    (XO (XO (XI (XI XH))))))) :: ((Zpos (XO (XO (XO (XI (XO (XI
+    XH))))))) :: [])))))), (KFlag (((S (S (S (S (S (S (S (S (S (S (S (S (S (S
+    (S (S (S (S (S (S (S (S (S (S (S (S (S (S (S (S (S (S (S (S (S (S (S (S
+    (S (S (S (S (S (S (S (S (S (S (S
+    O))))))))))))))))))))))))))))))))))))))))))))))))), (VI (Zpos (XI
+    XH)))) :: []))) :: ((((Zpos (XI (XO (XI (XI (XO XH)))))) :: ((Zpos (XO
+    (XO (XO (XI (XO (XI XH))))))) :: [])), (KFlag (((S (S (S (S (S (S (S (S
+    (S (S (S (S (S (S (S (S (S (S (S (S (S (S (S (S (S (S (S (S (S (S (S (S
+    (S (S (S (S (S (S (S (S (S (S (S (S (S (S (S (S (S
+    O))))))))))))))))))))))))))))))))))))))))))))))))), (VI (Zpos (XO (XO
+    XH))))) :: []))) :: ((((Zpos (XI (XO (XI (XI (XO XH)))))) :: ((Zpos (XI
+    (XO (XI (XI (XO XH)))))) :: ((Zpos (XO (XO (XO (XI (XO (XI
+    XH))))))) :: ((Zpos (XI (XO (XI (XO (XO (XI XH))))))) :: ((Zpos (XO (XO
+    (XI (XI (XO (XI XH))))))) :: ((Zpos (XO (XO (XO (XO (XI (XI
+    XH))))))) :: [])))))), (KFlag (((S (S (S (S (S (S (S (S (S (S (S (S (S (S
+    (S (S (S (S (S (S (S (S (S (S (S (S (S (S (S (S (S (S (S (S (S (S (S (S
+    (S (S (S (S (S (S (S (S (S (S (S
+    O))))))))))))))))))))))))))))))))))))))))))))))))), (VI (Zpos (XO (XO
+    XH))))) :: []))) :: ((((Zpos (XI (XO (XI (XI (XO XH)))))) :: ((Zpos (XI
+    (XO (XI (XI (XO XH)))))) :: ((Zpos (XO (XI (XI (XO (XI (XI
+    XH))))))) :: ((Zpos (XI (XO (XI (XO (XO (XI XH))))))) :: ((Zpos (XO (XI
+    (XO (XO (XI (XI XH))))))) :: ((Zpos (XI (XI (XO (XO (XI (XI
+    XH))))))) :: ((Zpos (XI (XO (XO (XI (XO (XI XH))))))) :: ((Zpos (XI (XI
+    (XI (XI (XO (XI XH))))))) :: ((Zpos (XO (XI (XI (XI (XO (XI
+    XH))))))) :: []))))))))), (KFlag (((S (S (S (S (S (S (S (S (S (S (S (S (S
+    (S (S (S (S (S (S (S (S (S (S (S (S (S (S (S (S (S (S (S (S (S (S (S (S
+    (S (S (S (S (S (S (S (S (S (S (S (S
+    O))))))))))))))))))))))))))))))))))))))))))))))))), (VI (Zpos (XI (XO
+    XH))))) :: []))) :: ((((Zpos (XI (XO (XI (XI (XO XH)))))) :: ((Zpos (XI
+    (XO (XO (XO (XI (XI XH))))))) :: [])), (KReq (((S (S (S (S (S (S (S (S (S
+    (S (S (S (S (S (S (S (S (S (S (S (S (S (S (S (S (S (S
+    O))))))))))))))))))))))))))) :: []), PStr))) :: ((((Zpos (XI (XO (XI (XI
+    (XO XH)))))) :: ((Zpos (XI (XO (XI (XI (XO XH)))))) :: ((Zpos (XI (XO (XO
+    (XO (XI (XI XH))))))) :: ((Zpos (XI (XO (XI (XO (XI (XI
+    XH))))))) :: ((Zpos (XI (XO (XI (XO (XO (XI XH))))))) :: ((Zpos (XO (XI
+    (XO (XO (XI (XI XH))))))) :: ((Zpos (XI (XO (XO (XI (XI (XI
+    XH))))))) :: []))))))), (KReq (((S (S (S (S (S (S (S (S (S (S (S (S (S (S
+    (S (S (S (S (S (S (S (S (S (S (S (S (S
+    O))))))))))))))))))))))))))) :: []), PStr))) :: ((((Zpos (XI (XO (XI (XI
+    (XO XH)))))) :: ((Zpos (XO (XI (XI (XO (XO (XI XH))))))) :: [])), (KReq
+    (((S (S (S (S (S (S (S (S (S (S (S (S (S (S (S (S (S (S (S (S (S (S (S (S
+    (S (S (S (S O)))))))))))))))))))))))))))) :: []), PSomeStr))) :: ((((Zpos
+    (XI (XO (XI (XI (XO XH)))))) :: ((Zpos (XI (XO (XI (XI (XO
+    XH)))))) :: ((Zpos (XO (XI (XI (XO (XO (XI XH))))))) :: ((Zpos (XI (XO
+    (XO (XI (XO (XI XH))))))) :: ((Zpos (XO (XO (XI (XI (XO (XI
+    XH))))))) :: ((Zpos (XO (XO (XI (XO (XI (XI XH))))))) :: ((Zpos (XI (XO
+    (XI (XO (XO (XI XH))))))) :: ((Zpos (XO (XI (XO (XO (XI (XI
+    XH))))))) :: [])))))))), (KReq (((S (S (S (S (S (S (S (S (S (S (S (S (S
+    (S (S (S (S (S (S (S (S (S (S (S (S (S (S (S
+    O)))))))))))))))))))))))))))) :: []), PSomeStr))) :: ((((Zpos (XI (XO (XI
+    (XI (XO XH)))))) :: ((Zpos (XI (XO (XI (XI (XO XH)))))) :: ((Zpos (XI (XO
+    (XO (XO (XO (XI XH))))))) :: ((Zpos (XO (XO (XI (XI (XO (XI
+    XH))))))) :: ((Zpos (XI (XI (XI (XO (XO (XI XH))))))) :: ((Zpos (XI (XI
+    (XI (XI (XO (XI XH))))))) :: [])))))), (KReq (((S (S (S (S (S (S
+    O)))))) :: []), PAlgo))) :: ((((Zpos (XI (XO (XI (XI (XO
+    XH)))))) :: ((Zpos (XI (XO (XI (XI (XO XH)))))) :: ((Zpos (XI (XI (XO (XO
+    (XI (XI XH))))))) :: ((Zpos (XI (XI (XO (XO (XO (XI XH))))))) :: ((Zpos
+    (XO (XO (XO (XI (XO (XI XH))))))) :: ((Zpos (XI (XO (XI (XO (XO (XI
+    XH))))))) :: ((Zpos (XI (XO (XI (XI (XO (XI XH))))))) :: ((Zpos (XI (XO
+    (XI (XO (XO (XI XH))))))) :: [])))))))), (KReq (((S (S (S (S (S (S (S
+    O))))))) :: ((S (S (S (S (S (S (S (S O)))))))) :: [])),
+    PScheme))) :: ((((Zpos (XI (XO (XI (XI (XO XH)))))) :: ((Zpos (XI (XO (XI
+    (XI (XO XH)))))) :: ((Zpos (XO (XO (XI (XO (XI (XI XH))))))) :: ((Zpos
+    (XI (XO (XO (XI (XO (XI XH))))))) :: ((Zpos (XI (XO (XI (XO (XO (XI
+    XH))))))) :: ((Zpos (XO (XI (XO (XO (XO (XI XH))))))) :: ((Zpos (XO (XI
+    (XO (XO (XI (XI XH))))))) :: ((Zpos (XI (XO (XI (XO (XO (XI
+    XH))))))) :: ((Zpos (XI (XO (XO (XO (XO (XI XH))))))) :: ((Zpos (XI (XI
+    (XO (XI (XO (XI XH))))))) :: [])))))))))), (KReq (((S (S (S (S (S (S (S
+    (S O)))))))) :: []), PTiebreak))) :: ((((Zpos (XI (XO (XI (XI (XO
+    XH)))))) :: ((Zpos (XO (XO (XI (XO (XO (XI XH))))))) :: [])), (KReq (((S
+    (S (S (S (S (S (S (S (S (S (S (S O)))))))))))) :: []),
+    PDelim))) :: ((((Zpos (XI (XO (XI (XI (XO XH)))))) :: ((Zpos (XI (XO (XI
+    (XI (XO XH)))))) :: ((Zpos (XO (XO (XI (XO (XO (XI XH))))))) :: ((Zpos
+    (XI (XO (XI (XO (XO (XI XH))))))) :: ((Zpos (XO (XO (XI (XI (XO (XI
+    XH))))))) :: ((Zpos (XI (XO (XO (XI (XO (XI XH))))))) :: ((Zpos (XI (XO
+    (XI (XI (XO (XI XH))))))) :: ((Zpos (XI (XO (XO (XI (XO (XI
+    XH))))))) :: ((Zpos (XO (XO (XI (XO (XI (XI XH))))))) :: ((Zpos (XI (XO
+    (XI (XO (XO (XI XH))))))) :: ((Zpos (XO (XI (XO (XO (XI (XI
+    XH))))))) :: []))))))))))), (KReq (((S (S (S (S (S (S (S (S (S (S (S (S
+    O)))))))))))) :: []), PDelim))) :: ((((Zpos (XI (XO (XI (XI (XO
+    XH)))))) :: ((Zpos (XO (XI (XI (XI (XO (XI XH))))))) :: [])), (KReq (((S
+    (S (S (S (S (S (S (S (S O))))))))) :: []), PNth))) :: ((((Zpos (XI (XO
+    (XI (XI (XO XH)))))) :: ((Zpos (XI (XO (XI (XI (XO XH)))))) :: ((Zpos (XO
+    (XI (XI (XI (XO (XI XH))))))) :: ((Zpos (XO (XO (XI (XO (XI (XI
+    XH))))))) :: ((Zpos (XO (XO (XO (XI (XO (XI XH))))))) :: []))))), (KReq
+    (((S (S (S (S (S (S (S (S (S O))))))))) :: []), PNth))) :: ((((Zpos (XI
+    (XO (XI (XI (XO XH)))))) :: ((Zpos (XI (XO (XI (XI (XO XH)))))) :: ((Zpos
+    (XI (XI (XI (XO (XI (XI XH))))))) :: ((Zpos (XI (XO (XO (XI (XO (XI
+    XH))))))) :: ((Zpos (XO (XO (XI (XO (XI (XI XH))))))) :: ((Zpos (XO (XO
+    (XO (XI (XO (XI XH))))))) :: ((Zpos (XI (XO (XI (XI (XO
+    XH)))))) :: ((Zpos (XO (XI (XI (XI (XO (XI XH))))))) :: ((Zpos (XO (XO
+    (XI (XO (XI (XI XH))))))) :: ((Zpos (XO (XO (XO (XI (XO (XI
+    XH))))))) :: [])))))))))), (KReq (((S (S (S (S (S (S (S (S (S (S
+    O)))))))))) :: []), PNthT))) :: ((((Zpos (XI (XO (XI (XI (XO
+    XH)))))) :: ((Zpos (XI (XO (XI (XI (XO XH)))))) :: ((Zpos (XI (XO (XO (XO
+    (XO (XI XH))))))) :: ((Zpos (XI (XI (XO (XO (XO (XI XH))))))) :: ((Zpos
+    (XI (XI (XO (XO (XO (XI XH))))))) :: ((Zpos (XI (XO (XI (XO (XO (XI
+    XH))))))) :: ((Zpos (XO (XO (XO (XO (XI (XI XH))))))) :: ((Zpos (XO (XO
+    (XI (XO (XI (XI XH))))))) :: ((Zpos (XI (XO (XI (XI (XO
+    XH)))))) :: ((Zpos (XO (XI (XI (XI (XO (XI XH))))))) :: ((Zpos (XO (XO
+    (XI (XO (XI (XI XH))))))) :: ((Zpos (XO (XO (XO (XI (XO (XI
+    XH))))))) :: [])))))))))))), (KReq (((S (S (S (S (S (S (S (S (S (S (S
+    O))))))))))) :: []), PNthT))) :: ((((Zpos (XI (XO (XI (XI (XO
+    XH)))))) :: ((Zpos (XI (XO (XI (XI (XO XH)))))) :: ((Zpos (XO (XO (XI (XO
+    (XI (XI XH))))))) :: ((Zpos (XI (XO (XO (XO (XO (XI XH))))))) :: ((Zpos
+    (XI (XO (XO (XI (XO (XI XH))))))) :: ((Zpos (XO (XO (XI (XI (XO (XI
+    XH))))))) :: [])))))), (KReq (((S (S (S (S (S (S (S (S (S (S (S (S (S (S
+    (S (S O)))))))))))))))) :: []), PPosInt))) :: ((((Zpos (XI (XO (XI (XI
+    (XO XH)))))) :: ((Zpos (XI (XO (XI (XI (XO XH)))))) :: ((Zpos (XO (XO (XI
+    (XI (XO (XI XH))))))) :: ((Zpos (XI (XO (XO (XO (XO (XI
+    XH))))))) :: ((Zpos (XI (XO (XO (XI (XI (XI XH))))))) :: ((Zpos (XI (XI
+    (XI (XI (XO (XI XH))))))) :: ((Zpos (XI (XO (XI (XO (XI (XI
+    XH))))))) :: ((Zpos (XO (XO (XI (XO (XI (XI XH))))))) :: [])))))))),
+    (KReq (((S (S (S (S (S (S (S (S (S (S (S (S (S (S (S (S (S (S (S
+    O))))))))))))))))))) :: []), PLayout))) :: ((((Zpos (XI (XO (XI (XI (XO
+    XH)))))) :: ((Zpos (XI (XO (XI (XI (XO XH)))))) :: ((Zpos (XI (XO (XO (XI
+    (XO (XI XH))))))) :: ((Zpos (XO (XI (XI (XI (XO (XI XH))))))) :: ((Zpos
+    (XO (XI (XI (XO (XO (XI XH))))))) :: ((Zpos (XI (XI (XI (XI (XO (XI
+    XH))))))) :: ((Zpos (XI (XO (XI (XI (XO XH)))))) :: ((Zpos (XI (XI (XO
+    (XO (XO (XI XH))))))) :: ((Zpos (XI (XI (XI (XI (XO (XI
+    XH))))))) :: ((Zpos (XI (XO (XI (XI (XO (XI XH))))))) :: ((Zpos (XI (XO
+    (XI (XI (XO (XI XH))))))) :: ((Zpos (XI (XO (XO (XO (XO (XI
+    XH))))))) :: ((Zpos (XO (XI (XI (XI (XO (XI XH))))))) :: ((Zpos (XO (XO
+    (XI (XO (XO (XI XH))))))) :: [])))))))))))))), (KReq (((S (S (S (S (S (S
+    (S (S (S (S (S (S (S (S (S (S (S (S (S (S (S (S (S (S (S (S (S (S (S (S
+    (S (S (S (S (S (S (S (S (S (S (S (S (S (S (S (S (S (S (S (S (S (S (S (S
+    (S (S (S (S (S
+    O))))))))))))))))))))))))))))))))))))))))))))))))))))))))))) :: []),
+    PStr))) :: ((((Zpos (XI (XO (XI (XI (XO XH)))))) :: ((Zpos (XI (XO (XI
+    (XI (XO XH)))))) :: ((Zpos (XI (XI (XI (XO (XO (XI XH))))))) :: ((Zpos
+    (XO (XO (XO (XI (XO (XI XH))))))) :: ((Zpos (XI (XI (XI (XI (XO (XI
+    XH))))))) :: ((Zpos (XI (XI (XO (XO (XI (XI XH))))))) :: ((Zpos (XO (XO
+    (XI (XO (XI (XI XH))))))) :: []))))))), (KReq (((S (S (S (S (S (S (S (S
+    (S (S (S (S (S (S (S (S (S (S (S (S (S (S (S (S (S (S (S (S (S (S (S (S
+    (S (S (S (S (S (S (S (S O)))))))))))))))))))))))))))))))))))))))) :: []),
+    PStr))) :: ((((Zpos (XI (XO (XI (XI (XO XH)))))) :: ((Zpos (XI (XO (XI
+    (XI (XO XH)))))) :: ((Zpos (XO (XO (XO (XO (XI (XI XH))))))) :: ((Zpos
+    (XO (XI (XO (XO (XI (XI XH))))))) :: ((Zpos (XI (XI (XI (XI (XO (XI
+    XH))))))) :: ((Zpos (XI (XO (XI (XI (XO (XI XH))))))) :: ((Zpos (XO (XO
+    (XO (XO (XI (XI XH))))))) :: ((Zpos (XO (XO (XI (XO (XI (XI
+    XH))))))) :: [])))))))), (KReq (((S (S (S (S (S (S (S (S (S (S (S (S (S
+    (S (S (S (S (S (S (S (S (S (S (S (S (S (S (S (S (S (S (S (S (S (S (S (S
+    (S (S O))))))))))))))))))))))))))))))))))))))) :: []),
+    PStr))) :: ((((Zpos (XI (XO (XI (XI (XO XH)))))) :: ((Zpos (XI (XO (XI
+    (XI (XO XH)))))) :: ((Zpos (XO (XO (XO (XI (XO (XI XH))))))) :: ((Zpos
+    (XI (XO (XI (XO (XO (XI XH))))))) :: ((Zpos (XI (XO (XO (XO (XO (XI
+    XH))))))) :: ((Zpos (XO (XO (XI (XO (XO (XI XH))))))) :: ((Zpos (XI (XO
+    (XI (XO (XO (XI XH))))))) :: ((Zpos (XO (XI (XO (XO (XI (XI
+    XH))))))) :: [])))))))), (KReq (((S (S (S (S (S (S (S (S (S (S (S (S (S
+    (S (S (S (S (S (S (S (S (S (S (S (S (S (S (S (S (S (S (S
+    O)))))))))))))))))))))))))))))))) :: []), PLines))) :: ((((Zpos (XI (XO
+    (XI (XI (XO XH)))))) :: ((Zpos (XI (XO (XI (XI (XO XH)))))) :: ((Zpos (XO
+    (XO (XO (XI (XO (XI XH))))))) :: ((Zpos (XI (XO (XI (XO (XO (XI
+    XH))))))) :: ((Zpos (XI (XO (XO (XO (XO (XI XH))))))) :: ((Zpos (XO (XO
+    (XI (XO (XO (XI XH))))))) :: ((Zpos (XI (XO (XI (XO (XO (XI
+    XH))))))) :: ((Zpos (XO (XI (XO (XO (XI (XI XH))))))) :: ((Zpos (XI (XO
+    (XI (XI (XO XH)))))) :: ((Zpos (XO (XO (XI (XI (XO (XI
+    XH))))))) :: ((Zpos (XI (XO (XO (XI (XO (XI XH))))))) :: ((Zpos (XO (XI
+    (XI (XI (XO (XI XH))))))) :: ((Zpos (XI (XO (XI (XO (XO (XI
+    XH))))))) :: ((Zpos (XI (XI (XO (XO (XI (XI
+    XH))))))) :: [])))))))))))))), (KReq (((S (S (S (S (S (S (S (S (S (S (S
+    (S (S (S (S (S (S (S (S (S (S (S (S (S (S (S (S (S (S (S (S (S (S
+    O))))))))))))))))))))))))))))))))) :: []), PInt))) :: ((((Zpos (XI (XO
+    (XI (XI (XO XH)))))) :: ((Zpos (XI (XO (XI (XI (XO XH)))))) :: ((Zpos (XO
+    (XO (XO (XI (XO (XI XH))))))) :: ((Zpos (XI (XI (XO (XO (XI (XI
+    XH))))))) :: ((Zpos (XI (XI (XO (XO (XO (XI XH))))))) :: ((Zpos (XO (XI
+    (XO (XO (XI (XI XH))))))) :: ((Zpos (XI (XI (XI (XI (XO (XI
+    XH))))))) :: ((Zpos (XO (XO (XI (XI (XO (XI XH))))))) :: ((Zpos (XO (XO
+    (XI (XI (XO (XI XH))))))) :: ((Zpos (XI (XO (XI (XI (XO
+    XH)))))) :: ((Zpos (XI (XI (XI (XI (XO (XI XH))))))) :: ((Zpos (XO (XI
+    (XI (XO (XO (XI XH))))))) :: ((Zpos (XO (XI (XI (XO (XO (XI
+    XH))))))) :: []))))))))))))), (KReq (((S (S (S (S (S (S (S (S (S (S (S (S
+    (S (S (S (S (S (S (S (S (S (S (S (S (S (S (S (S (S (S (S (S (S (S (S (S
+    (S (S (S (S (S (S O)))))))))))))))))))))))))))))))))))))))))) :: []),
+    PInt))) :: ((((Zpos (XI (XO (XI (XI (XO XH)))))) :: ((Zpos (XI (XO (XI
+    (XI (XO XH)))))) :: ((Zpos (XI (XI (XO (XO (XI (XI XH))))))) :: ((Zpos
+    (XI (XI (XO (XO (XO (XI XH))))))) :: ((Zpos (XO (XI (XO (XO (XI (XI
+    XH))))))) :: ((Zpos (XI (XI (XI (XI (XO (XI XH))))))) :: ((Zpos (XO (XO
+    (XI (XI (XO (XI XH))))))) :: ((Zpos (XO (XO (XI (XI (XO (XI
+    XH))))))) :: ((Zpos (XI (XO (XI (XI (XO XH)))))) :: ((Zpos (XI (XI (XI
+    (XI (XO (XI XH))))))) :: ((Zpos (XO (XI (XI (XO (XO (XI
+    XH))))))) :: ((Zpos (XO (XI (XI (XO (XO (XI XH))))))) :: [])))))))))))),
+    (KReq (((S (S (S (S (S (S (S (S (S (S (S (S (S (S (S (S (S (S (S (S (S (S
+    (S (S (S (S (S (S (S (S (S (S (S (S (S (S (S (S (S (S (S (S (S
+    O))))))))))))))))))))))))))))))))))))))))))) :: []), PInt))) :: ((((Zpos
+    (XI (XO (XI (XI (XO XH)))))) :: ((Zpos (XI (XO (XI (XI (XO
+    XH)))))) :: ((Zpos (XO (XO (XI (XO (XI (XI XH))))))) :: ((Zpos (XI (XO
+    (XO (XO (XO (XI XH))))))) :: ((Zpos (XO (XI (XO (XO (XO (XI
+    XH))))))) :: ((Zpos (XI (XI (XO (XO (XI (XI XH))))))) :: ((Zpos (XO (XO
+    (XI (XO (XI (XI XH))))))) :: ((Zpos (XI (XI (XI (XI (XO (XI
+    XH))))))) :: ((Zpos (XO (XO (XO (XO (XI (XI XH))))))) :: []))))))))),
+    (KReq (((S (S (S (S (S (S (S (S (S (S (S (S (S (S (S (S (S (S (S (S (S (S
+    (S (S (S (S (S (S (S (S (S (S (S (S (S (S (S (S (S (S (S
+    O))))))))))))))))))))))))))))))))))))))))) :: []), PInt))) :: ((((Zpos
+    (XI (XO (XI (XI (XO XH)))))) :: ((Zpos (XI (XO (XI (XI (XO
+    XH)))))) :: ((Zpos (XO (XO (XO (XO (XI (XI XH))))))) :: ((Zpos (XO (XI
+    (XO (XO (XI (XI XH))))))) :: ((Zpos (XI (XO (XI (XO (XO (XI
+    XH))))))) :: ((Zpos (XO (XI (XI (XO (XI (XI XH))))))) :: ((Zpos (XI (XO
+    (XO (XI (XO (XI XH))))))) :: ((Zpos (XI (XO (XI (XO (XO (XI
+    XH))))))) :: ((Zpos (XI (XI (XI (XO (XI (XI XH))))))) :: []))))))))),
+    (KReq (((S (S (S (S (S (S (S (S (S (S (S (S (S (S (S (S (S (S (S (S (S (S
+    (S (S (S (S (S (S (S (S (S (S (S (S (S (S (S (S (S (S (S (S (S (S (S (S
+    (S (S (S (S (S (S (S (S (S (S (S (S (S (S (S
+    O))))))))))))))))))))))))))))))))))))))))))))))))))))))))))))) :: []),
+    PStr))) :: ((((Zpos (XI (XO (XI (XI (XO XH)))))) :: ((Zpos (XI (XO (XI
+    (XI (XO XH)))))) :: ((Zpos (XO (XO (XO (XI (XO (XI XH))))))) :: ((Zpos
+    (XI (XO (XI (XO (XO (XI XH))))))) :: ((Zpos (XI (XO (XO (XI (XO (XI
+    XH))))))) :: ((Zpos (XI (XI (XI (XO (XO (XI XH))))))) :: ((Zpos (XO (XO
+    (XO (XI (XO (XI XH))))))) :: ((Zpos (XO (XO (XI (XO (XI (XI
+    XH))))))) :: [])))))))), (KReq (((S (S (S (S (S (S (S (S (S (S (S (S (S
+    (S (S (S (S (S (S (S (S O))))))))))))))))))))) :: []),
+    PHeight))) :: ((((Zpos (XI (XO (XI (XI (XO XH)))))) :: ((Zpos (XI (XO (XI
+    (XI (XO XH)))))) :: ((Zpos (XI (XI (XI (XO (XI (XI XH))))))) :: ((Zpos
+    (XI (XO (XO (XI (XO (XI XH))))))) :: ((Zpos (XO (XO (XI (XO (XI (XI
+    XH))))))) :: ((Zpos (XO (XO (XO (XI (XO (XI XH))))))) :: ((Zpos (XI (XO
+    (XI (XI (XO XH)))))) :: ((Zpos (XI (XI (XO (XO (XI (XI
+    XH))))))) :: ((Zpos (XO (XO (XO (XI (XO (XI XH))))))) :: ((Zpos (XI (XO
+    (XI (XO (XO (XI XH))))))) :: ((Zpos (XO (XO (XI (XI (XO (XI
+    XH))))))) :: ((Zpos (XO (XO (XI (XI (XO (XI XH))))))) :: [])))))))))))),
+    (KReq (((S (S (S (S (S (S (S (S (S (S (S (S (S (S (S (S (S (S (S (S (S (S
+    (S (S (S (S (S (S (S (S (S (S (S (S (S (S (S (S (S (S (S (S (S (S (S (S
+    (S (S (S (S (S (S (S (S (S (S (S (S (S (S
+    O)))))))))))))))))))))))))))))))))))))))))))))))))))))))))))) :: []),
+    PStr))) :: ((((Zpos (XI (XO (XI (XI (XO XH)))))) :: ((Zpos (XI (XO (XI
+    (XI (XO XH)))))) :: ((Zpos (XI (XI (XI (XO (XI (XI XH))))))) :: ((Zpos
+    (XI (XO (XO (XO (XO (XI XH))))))) :: ((Zpos (XO (XO (XI (XI (XO (XI
+    XH))))))) :: ((Zpos (XI (XI (XO (XI (XO (XI XH))))))) :: ((Zpos (XI (XO
+    (XI (XO (XO (XI XH))))))) :: ((Zpos (XO (XI (XO (XO (XI (XI
+    XH))))))) :: [])))))))), (KReq (((S (S (S (S (S (S (S (S (S (S (S (S (S
+    (S (S (S (S (S (S (S (S (S (S (S (S (S (S (S (S (S (S (S (S (S (S (S
+    O)))))))))))))))))))))))))))))))))))) :: []), PWalker))) :: ((((Zpos (XI
+    (XO (XI (XI (XO XH)))))) :: ((Zpos (XI (XO (XI (XI (XO XH)))))) :: ((Zpos
+    (XI (XI (XI (XO (XI (XI XH))))))) :: ((Zpos (XI (XO (XO (XO (XO (XI
+    XH))))))) :: ((Zpos (XO (XO (XI (XI (XO (XI XH))))))) :: ((Zpos (XI (XI
+    (XO (XI (XO (XI XH))))))) :: ((Zpos (XI (XO (XI (XO (XO (XI
+    XH))))))) :: ((Zpos (XO (XI (XO (XO (XI (XI XH))))))) :: ((Zpos (XI (XO
+    (XI (XI (XO XH)))))) :: ((Zpos (XI (XI (XO (XO (XI (XI
+    XH))))))) :: ((Zpos (XI (XI (XO (XI (XO (XI XH))))))) :: ((Zpos (XI (XO
+    (XO (XI (XO (XI XH))))))) :: ((Zpos (XO (XO (XO (XO (XI (XI
+    XH))))))) :: []))))))))))))), (KReq (((S (S (S (S (S (S (S (S (S (S (S (S
+    (S (S (S (S (S (S (S (S (S (S (S (S (S (S (S (S (S (S (S (S (S (S (S (S
+    (S (S O)))))))))))))))))))))))))))))))))))))) :: []),
+    PSkip))) :: ((((Zpos (XI (XO (XI (XI (XO XH)))))) :: ((Zpos (XI (XI (XO
+    (XO (XI (XI XH))))))) :: [])), (KOptNum ((S (S (S (S (S (S (S (S (S (S (S
+    (S (S O))))))))))))), (Zpos XH)))) :: ((((Zpos (XI (XO (XI (XI (XO
+    XH)))))) :: ((Zpos (XI (XO (XI (XI (XO XH)))))) :: ((Zpos (XI (XI (XO (XO
+    (XI (XI XH))))))) :: ((Zpos (XI (XI (XI (XI (XO (XI XH))))))) :: ((Zpos
+    (XO (XI (XO (XO (XI (XI XH))))))) :: ((Zpos (XO (XO (XI (XO (XI (XI
+    XH))))))) :: [])))))), (KOptNum ((S (S (S (S (S (S (S (S (S (S (S (S (S
+    O))))))))))))), (Zpos XH)))) :: ((((Zpos (XI (XO (XI (XI (XO
+    XH)))))) :: ((Zpos (XI (XO (XI (XI (XO (XI XH))))))) :: [])), (KOptNum
+    ((S (S (S (S (S (S (S (S (S (S (S (S (S (S (S (S (S O))))))))))))))))),
+    (Zpos (XI (XI (XI (XI (XI (XI (XI (XI (XI (XI (XI (XI (XI (XI (XI (XI (XI
+    (XI (XI (XI (XI (XI (XI (XI (XI (XI (XI (XI (XI (XI
+    XH)))))))))))))))))))))))))))))))))) :: ((((Zpos (XI (XO (XI (XI (XO
+    XH)))))) :: ((Zpos (XI (XO (XI (XI (XO XH)))))) :: ((Zpos (XI (XO (XI (XI
+    (XO (XI XH))))))) :: ((Zpos (XI (XO (XI (XO (XI (XI XH))))))) :: ((Zpos
+    (XO (XO (XI (XI (XO (XI XH))))))) :: ((Zpos (XO (XO (XI (XO (XI (XI
+    XH))))))) :: ((Zpos (XI (XO (XO (XI (XO (XI XH))))))) :: []))))))),
+    (KOptNum ((S (S (S (S (S (S (S (S (S (S (S (S (S (S (S (S (S
+    O))))))))))))))))), (Zpos (XI (XI (XI (XI (XI (XI (XI (XI (XI (XI (XI (XI
+    (XI (XI (XI (XI (XI (XI (XI (XI (XI (XI (XI (XI (XI (XI (XI (XI (XI (XI
+    XH)))))))))))))))))))))))))))))))))) :: ((((Zpos (XI (XO (XI (XI (XO
+    XH)))))) :: ((Zpos (XI (XO (XI (XI (XO XH)))))) :: ((Zpos (XI (XI (XI (XO
+    (XO (XI XH))))))) :: ((Zpos (XI (XO (XO (XO (XO (XI XH))))))) :: ((Zpos
+    (XO (XO (XO (XO (XI (XI XH))))))) :: []))))), (KOptNum ((S (S (S (S (S (S
+    (S (S (S (S (S (S (S (S (S (S (S (S (S (S (S (S (S (S (S (S (S (S (S (S
+    (S (S (S (S (S (S (S (S (S (S (S (S (S (S
+    O)))))))))))))))))))))))))))))))))))))))))))), (Zpos XH)))) :: ((((Zpos
+    (XI (XO (XI (XI (XO XH)))))) :: ((Zpos (XI (XO (XI (XI (XO
+    XH)))))) :: ((Zpos (XO (XO (XI (XI (XO (XI XH))))))) :: ((Zpos (XI (XO
+    (XO (XI (XO (XI XH))))))) :: ((Zpos (XI (XI (XO (XO (XI (XI
+    XH))))))) :: ((Zpos (XO (XO (XI (XO (XI (XI XH))))))) :: ((Zpos (XI (XO
+    (XI (XO (XO (XI XH))))))) :: ((Zpos (XO (XI (XI (XI (XO (XI
+    XH))))))) :: [])))))))), (KListen false)) :: ((((Zpos (XI (XO (XI (XI (XO
+    XH)))))) :: ((Zpos (XI (XO (XI (XI (XO XH)))))) :: ((Zpos (XO (XO (XI (XI
+    (XO (XI XH))))))) :: ((Zpos (XI (XO (XO (XI (XO (XI XH))))))) :: ((Zpos
+    (XI (XI (XO (XO (XI (XI XH))))))) :: ((Zpos (XO (XO (XI (XO (XI (XI
+    XH))))))) :: ((Zpos (XI (XO (XI (XO (XO (XI XH))))))) :: ((Zpos (XO (XI
+    (XI (XI (XO (XI XH))))))) :: ((Zpos (XI (XO (XI (XI (XO
+    XH)))))) :: ((Zpos (XI (XO (XI (XO (XI (XI XH))))))) :: ((Zpos (XO (XI
+    (XI (XI (XO (XI XH))))))) :: ((Zpos (XI (XI (XO (XO (XI (XI
+    XH))))))) :: ((Zpos (XI (XO (XO (XO (XO (XI XH))))))) :: ((Zpos (XO (XI
+    (XI (XO (XO (XI XH))))))) :: ((Zpos (XI (XO (XI (XO (XO (XI
+    XH))))))) :: []))))))))))))))), (KListen true)) :: ((((Zpos (XI (XO (XI
+    (XI (XO XH)))))) :: ((Zpos (XI (XO (XI (XI (XO XH)))))) :: ((Zpos (XI (XI
+    (XI (XO (XI (XI XH))))))) :: ((Zpos (XI (XO (XO (XO (XO (XI
+    XH))))))) :: ((Zpos (XO (XO (XI (XI (XO (XI XH))))))) :: ((Zpos (XI (XI
+    (XO (XI (XO (XI XH))))))) :: ((Zpos (XI (XO (XI (XO (XO (XI
+    XH))))))) :: ((Zpos (XO (XI (XO (XO (XI (XI XH))))))) :: ((Zpos (XI (XO
+    (XI (XI (XO XH)))))) :: ((Zpos (XO (XI (XO (XO (XI (XI
+    XH))))))) :: ((Zpos (XI (XI (XI (XI (XO (XI XH))))))) :: ((Zpos (XI (XI
+    (XI (XI (XO (XI XH))))))) :: ((Zpos (XO (XO (XI (XO (XI (XI
+    XH))))))) :: []))))))))))))), (KDirs (S (S (S (S (S (S (S (S (S (S (S (S
+    (S (S (S (S (S (S (S (S (S (S (S (S (S (S (S (S (S (S (S (S (S (S (S (S
+    (S O))))))))))))))))))))))))))))))))))))))) :: ((((Zpos (XI (XO (XI (XI
+    (XO XH)))))) :: ((Zpos (XI (XO (XI (XI (XO XH)))))) :: ((Zpos (XO (XO (XO
+    (XI (XO (XI XH))))))) :: ((Zpos (XI (XO (XO (XI (XO (XI
+    XH))))))) :: ((Zpos (XI (XI (XO (XO (XI (XI XH))))))) :: ((Zpos (XO (XO
+    (XI (XO (XI (XI XH))))))) :: ((Zpos (XI (XI (XI (XI (XO (XI
+    XH))))))) :: ((Zpos (XO (XI (XO (XO (XI (XI XH))))))) :: ((Zpos (XI (XO
+    (XO (XI (XI (XI XH))))))) :: []))))))))), KHistory) :: ((((Zpos (XI (XO
+    (XI (XI (XO XH)))))) :: ((Zpos (XI (XO (XI (XI (XO XH)))))) :: ((Zpos (XO
+    (XO (XO (XI (XO (XI XH))))))) :: ((Zpos (XI (XO (XO (XI (XO (XI
+    XH))))))) :: ((Zpos (XI (XI (XO (XO (XI (XI XH))))))) :: ((Zpos (XO (XO
+    (XI (XO (XI (XI XH))))))) :: ((Zpos (XI (XI (XI (XI (XO (XI
+    XH))))))) :: ((Zpos (XO (XI (XO (XO (XI (XI XH))))))) :: ((Zpos (XI (XO
+    (XO (XI (XI (XI XH))))))) :: ((Zpos (XI (XO (XI (XI (XO
+    XH)))))) :: ((Zpos (XI (XI (XO (XO (XI (XI XH))))))) :: ((Zpos (XI (XO
+    (XO (XI (XO (XI XH))))))) :: ((Zpos (XO (XI (XO (XI (XI (XI
+    XH))))))) :: ((Zpos (XI (XO (XI (XO (XO (XI
+    XH))))))) :: [])))))))))))))), KHistorySize) :: ((((Zpos (XI (XO (XI (XI
+    (XO XH)))))) :: ((Zpos (XI (XO (XI (XI (XO XH)))))) :: ((Zpos (XI (XO (XI
+    (XO (XO (XI XH))))))) :: ((Zpos (XO (XO (XO (XI (XI (XI
+    XH))))))) :: ((Zpos (XO (XO (XO (XO (XI (XI XH))))))) :: ((Zpos (XI (XO
+    (XI (XO (XO (XI XH))))))) :: ((Zpos (XI (XI (XO (XO (XO (XI
+    XH))))))) :: ((Zpos (XO (XO (XI (XO (XI (XI XH))))))) :: [])))))))),
+    KExpect) :: ((((Zpos (XI (XO (XI (XI (XO XH)))))) :: ((Zpos (XI (XO (XI
+    (XI (XO XH)))))) :: ((Zpos (XO (XI (XI (XI (XO (XI XH))))))) :: ((Zpos
+    (XI (XI (XI (XI (XO (XI XH))))))) :: ((Zpos (XI (XO (XI (XI (XO
+    XH)))))) :: ((Zpos (XI (XO (XI (XO (XO (XI XH))))))) :: ((Zpos (XO (XO
+    (XO (XI (XI (XI XH))))))) :: ((Zpos (XO (XO (XO (XO (XI (XI
+    XH))))))) :: ((Zpos (XI (XO (XI (XO (XO (XI XH))))))) :: ((Zpos (XI (XI
+    (XO (XO (XO (XI XH))))))) :: ((Zpos (XO (XO (XI (XO (XI (XI
+    XH))))))) :: []))))))))))), KNoExpect) :: ((((Zpos (XI (XO (XI (XI (XO
+    XH)))))) :: ((Zpos (XI (XO (XI (XI (XO XH)))))) :: ((Zpos (XO (XI (XO (XO
+    (XO (XI XH))))))) :: ((Zpos (XI (XO (XO (XI (XO (XI XH))))))) :: ((Zpos
+    (XO (XI (XI (XI (XO (XI XH))))))) :: ((Zpos (XO (XO (XI (XO (XO (XI
+    XH))))))) :: [])))))),
+    KBind) :: [])))))))))))))))))))))))))))))))))))))))))))))))))))))))))))))))))))))))))))))))))))))))))))))))))))))))))))))))))))))))))))))))))))))))))
+
+(** val kind_writes : okind -> field list **)
+
+let kind_writes = function
+| KFlag ws -> map fst ws
+| KReq (fs0, _) -> fs0
+| KOptNum (f, _) -> f :: []
+| KListen _ -> f_LISTEN :: (f_UNSAFE :: [])
+| KDirs f -> f :: []
+| KHistory -> f_HISTORY :: (f_HISTMAX :: [])
+| KHistorySize -> f_HMAXLOCAL :: (f_HISTMAX :: [])
+| _ -> []
+
+(** val consumes_val : okind -> bool **)
+
+let consumes_val = function
+| KFlag _ -> false
+| KNoExpect -> false
+| _ -> true
+
+(** val break_eq : str -> str -> str * str option **)
+
+let rec break_eq cur = function
+| [] -> ((rev cur), None)
+| c :: r ->
+  if Z.eqb c (Zpos (XI (XO (XI (XI (XI XH))))))
+  then ((rev cur), (Some r))
+  else break_eq (c :: cur) r
+
+(** val split_arg : str -> str * str option **)
+
+let split_arg a =
+  if has_prefix (dASH :: (dASH :: [])) a then break_eq [] a else (a, None)
+
+(** val s_q : str **)
+
+let s_q =
+  (Zpos (XI (XO (XI (XI (XO XH)))))) :: ((Zpos (XI (XO (XO (XO (XI (XI
+    XH))))))) :: [])
+
+(** val s_f0 : str **)
+
+let s_f0 =
+  (Zpos (XI (XO (XI (XI (XO XH)))))) :: ((Zpos (XO (XI (XI (XO (XO (XI
+    XH))))))) :: [])
+
+(** val s_d : str **)
+
+let s_d =
+  (Zpos (XI (XO (XI (XI (XO XH)))))) :: ((Zpos (XO (XO (XI (XO (XO (XI
+    XH))))))) :: [])
+
+(** val s_n : str **)
+
+let s_n =
+  (Zpos (XI (XO (XI (XI (XO XH)))))) :: ((Zpos (XO (XI (XI (XI (XO (XI
+    XH))))))) :: [])
+
+(** val s_s : str **)
+
+let s_s =
+  (Zpos (XI (XO (XI (XI (XO XH)))))) :: ((Zpos (XI (XI (XO (XO (XI (XI
+    XH))))))) :: [])
+
+(** val s_m : str **)
+
+let s_m =
+  (Zpos (XI (XO (XI (XI (XO XH)))))) :: ((Zpos (XI (XO (XI (XI (XO (XI
+    XH))))))) :: [])
+
+(** val attached : str -> (okind * str option) option **)
+
+let attached name =
+  let v = skipn (S (S O)) name in
+  if has_prefix s_q name
+  then Some ((KFlag ((f_QUERY, (vstr v)) :: [])), None)
+  else if has_prefix s_f0 name
+       then Some ((KFlag ((f_FILTER, (vsome (vstr v))) :: [])), None)
+       else if has_prefix s_d name
+            then Some ((KReq ((f_DELIM :: []), PDelim)), (Some v))
+            else if has_prefix s_n name
+                 then Some ((KReq ((f_NTH :: []), PNth)), (Some v))
+                 else if has_prefix s_s name
+                      then Some ((KFlag ((f_SORT, (VI (Zpos XH))) :: [])),
+                             None)
+                      else if has_prefix s_m name
+                           then Some ((KOptNum (f_MULTI, mAX_MULTI)), (Some
+                                  v))
+                           else None
+
+(** val resolve : str -> (okind * str option) option **)
+
+let resolve a =
+  let (name, v) = split_arg a in
+  (match assoc_str name opt_table with
+   | Some k -> Some (k, v)
+   | None ->
+     (match attached name with
+      | Some p ->
+        let (k, o) = p in
+        (match o with
+         | Some x -> Some (k, (Some x))
+         | None -> Some (k, v))
+      | None -> None))
+
+(** val writes : str -> field list **)
+
+let writes a =
+  match resolve a with
+  | Some p -> let (k, _) = p in kind_writes k
+  | None -> []
+
+(** val starts_with : z -> str -> bool **)
+
+let starts_with c = function
+| [] -> false
+| x :: _ -> Z.eqb x c
+
+(** val next_string : str option -> str list -> (str * nat) option **)
+
+let next_string v rest =
+  match v with
+  | Some x -> Some (x, O)
+  | None -> (match rest with
+             | [] -> None
+             | a :: _ -> Some (a, (S O)))
+
+(** val take_dirs : env -> str list -> str list **)
+
+let rec take_dirs e = function
+| [] -> []
+| a :: r -> if e.isdir a then a :: (take_dirs e r) else []
+
+(** val history_set : cfg -> bool **)
+
+let history_set c =
+  match c.fv0 f_HISTORY with
+  | VI _ -> false
+  | VL l -> (match l with
+             | [] -> false
+             | _ :: _ -> true)
+
+(** val exec :
+    env -> okind -> str option -> cfg -> str list -> (cfg * nat) outcome res **)
+
+let exec e k v c rest =
+  match k with
+  | KFlag ws -> Ok (Good ((setfs ws c), O))
+  | KReq (fs0, p) ->
+    (match next_string v rest with
+     | Some p0 ->
+       let (s, n) = p0 in
+       (match run_parser p s with
+        | Some vals -> Ok (Good ((setfs (combine fs0 vals) c), n))
+        | None -> Ok (Bad e_BAD_VALUE))
+     | None -> Ok (Bad e_VALUE_REQUIRED))
+  | KOptNum (f, d) ->
+    (match v with
+     | Some x ->
+       (match atoi x with
+        | Some n -> Ok (Good ((setf f (VI n) c), O))
+        | None -> Ok (Bad e_BAD_VALUE))
+     | None ->
+       (match rest with
+        | [] -> Ok (Good ((setf f (VI d) c), O))
+        | a :: _ ->
+          if match a with
+             | [] -> false
+             | ch :: _ -> is_digit ch
+          then (match atoi a with
+                | Some n -> Ok (Good ((setf f (VI n) c), (S O)))
+                | None -> Ok (Bad e_BAD_VALUE))
+          else Ok (Good ((setf f (VI d) c), O))))
+  | KListen unsafe ->
+    let given =
+      match v with
+      | Some x -> Some (x, O)
+      | None ->
+        (match rest with
+         | [] -> None
+         | a :: _ ->
+           if (||) (starts_with dASH a) (starts_with pLUS a)
+           then None
+           else Some (a, (S O)))
+    in
+    (match given with
+     | Some p ->
+       let (s, n) = p in
+       (match parse_listen s with
+        | Some a ->
+          Ok (Good
+            ((setfs ((f_LISTEN, (vsome a)) :: ((f_UNSAFE,
+               (vbool unsafe)) :: [])) c), n))
+        | None -> Ok (Bad e_BAD_VALUE))
+     | None ->
+       Ok (Good
+         ((setfs ((f_LISTEN,
+            (vsome (VL ((vstr s_localhost) :: ((VI Z0) :: []))))) :: ((f_UNSAFE,
+            (vbool unsafe)) :: [])) c), O)))
+  | KDirs f ->
+    let ds = take_dirs e rest in
+    let all = match v with
+              | Some x -> x :: ds
+              | None -> ds in
+    (match all with
+     | [] -> Ok (Bad e_VALUE_REQUIRED)
+     | _ :: _ -> Ok (Good ((setf f (vstrs all) c), (length ds))))
+  | KHistory ->
+    (match next_string v rest with
+     | Some p ->
+       let (s, n) = p in
+       if e.histok s
+       then Ok (Good
+              ((setfs ((f_HISTORY, (vsome (vstr s))) :: ((f_HISTMAX,
+                 (c.fv0 f_HMAXLOCAL)) :: [])) c), n))
+       else Ok (Bad e_HISTORY)
+     | None -> Ok (Bad e_VALUE_REQUIRED))
+  | KHistorySize ->
+    (match next_string v rest with
+     | Some p ->
+       let (s, n) = p in
+       (match atoi s with
+        | Some m ->
+          if Z.ltb m (Zpos XH)
+          then Ok (Bad e_BAD_VALUE)
+          else Ok (Good
+                 ((setfs ((f_HMAXLOCAL, (VI
+                    m)) :: (if history_set c
+                            then (f_HISTMAX, (VI m)) :: []
+                            else [])) c), n))
+        | None -> Ok (Bad e_BAD_VALUE))
+     | None -> Ok (Bad e_VALUE_REQUIRED))
+  | KExpect ->
+    (match next_string v rest with
+     | Some p ->
+       let (s, n) = p in
+       (match parse_key_chords s with
+        | Good ks ->
+          Ok (Good ({ fv0 = c.fv0; kmap = c.kmap; expect =
+            (fold_left (fun acc k0 -> add_key k0 acc) ks c.expect) }, n))
+        | Bad x -> Ok (Bad x))
+     | None -> Ok (Bad e_VALUE_REQUIRED))
+  | KNoExpect -> Ok (Good ({ fv0 = c.fv0; kmap = c.kmap; expect = [] }, O))
+  | KBind ->
+    (match next_string v rest with
+     | Some p ->
+       let (s, n) = p in
+       bind (parse_keymap c.kmap s) (fun o ->
+         match o with
+         | Good m ->
+           Ok (Good ({ fv0 = c.fv0; kmap = m; expect = c.expect }, n))
+         | Bad x -> Ok (Bad x))
+     | None -> Ok (Bad e_VALUE_REQUIRED))
+
+(** val step : env -> cfg -> str -> str list -> (cfg * nat) outcome res **)
+
+let step e c a rest =
+  match resolve a with
+  | Some p ->
+    let (k, v) = p in
+    bind (exec e k v c rest) (fun o ->
+      match o with
+      | Good a0 ->
+        let (c', n) = a0 in
+        if consumes_val k
+        then Ok (Good (c', n))
+        else (match v with
+              | Some _ -> Ok (Bad e_UNEXPECTED_VALUE)
+              | None -> Ok (Good (c', n)))
+      | Bad x -> Ok (Bad x))
+  | None -> Ok (Bad e_UNKNOWN_OPTION)
+
+(** val go : env -> cfg -> nat -> str list -> cfg outcome res **)
+
+let rec go e c skip = function
+| [] -> Ok (Good c)
+| a :: rest ->
+  (match skip with
+   | O ->
+     bind (step e c a rest) (fun o ->
+       match o with
+       | Good a0 -> let (c', n) = a0 in go e c' n rest
+       | Bad x -> Ok (Bad x))
+   | S k -> go e c k rest)
+
+(** val as_z : val0 -> z **)
+
+let as_z =
+  as_int
+
+(** val end_validate : cfg -> cfg outcome **)
+
+let end_validate c =
+  if Z.ltb (as_z (c.fv0 f_HEADERLINES)) Z0
+  then Bad e_VALIDATION
+  else if Z.ltb (as_z (c.fv0 f_HSCROLLOFF)) Z0
+       then Bad e_VALIDATION
+       else if Z.ltb (as_z (c.fv0 f_SCROLLOFF)) Z0
+            then Bad e_VALIDATION
+            else if Z.ltb (as_z (c.fv0 f_TABSTOP)) (Zpos XH)
+                 then Bad e_VALIDATION
+                 else Good c
+
+(** val layer_init : cfg -> cfg **)
+
+let layer_init c =
+  setf f_HMAXLOCAL
+    (if history_set c
+     then c.fv0 f_HISTMAX
+     else VI (Zpos (XO (XO (XO (XI (XO (XI (XI (XI (XI XH))))))))))) c
+
+(** val parse_layer : env -> cfg -> str list -> cfg outcome res **)
+
+let parse_layer e c args =
+  bind (go e (layer_init c) O args) (fun o ->
+    match o with
+    | Good c' -> Ok (end_validate c')
+    | Bad x -> Ok (Bad x))
+
+(** val parse_layers : env -> cfg -> str list list -> cfg outcome res **)
+
+let rec parse_layers e c = function
+| [] -> Ok (Good c)
+| l :: r ->
+  bind (parse_layer e c l) (fun o ->
+    match o with
+    | Good c' -> parse_layers e c' r
+    | Bad x -> Ok (Bad x))
+
+(** val s_dotgit : str **)
+
+let s_dotgit =
+  (Zpos (XO (XI (XI (XI (XO XH)))))) :: ((Zpos (XI (XI (XI (XO (XO (XI
+    XH))))))) :: ((Zpos (XI (XO (XO (XI (XO (XI XH))))))) :: ((Zpos (XO (XO
+    (XI (XO (XI (XI XH))))))) :: [])))
+
+(** val s_node_modules : str **)
+
+let s_node_modules =
+  (Zpos (XO (XI (XI (XI (XO (XI XH))))))) :: ((Zpos (XI (XI (XI (XI (XO (XI
+    XH))))))) :: ((Zpos (XO (XO (XI (XO (XO (XI XH))))))) :: ((Zpos (XI (XO
+    (XI (XO (XO (XI XH))))))) :: ((Zpos (XI (XI (XI (XI (XI (XO
+    XH))))))) :: ((Zpos (XI (XO (XI (XI (XO (XI XH))))))) :: ((Zpos (XI (XI
+    (XI (XI (XO (XI XH))))))) :: ((Zpos (XO (XO (XI (XO (XO (XI
+    XH))))))) :: ((Zpos (XI (XO (XI (XO (XI (XI XH))))))) :: ((Zpos (XO (XO
+    (XI (XI (XO (XI XH))))))) :: ((Zpos (XI (XO (XI (XO (XO (XI
+    XH))))))) :: ((Zpos (XI (XI (XO (XO (XI (XI XH))))))) :: [])))))))))))
+
+(** val s_prompt : str **)
+
+let s_prompt =
+  (Zpos (XO (XI (XI (XI (XI XH)))))) :: ((Zpos (XO (XO (XO (XO (XO
+    XH)))))) :: [])
+
+(** val default_cfg : cfg **)
+
+let default_cfg =
+  setfs ((f_FUZZY, t) :: ((f_EXTENDED, t) :: ((f_NORMALIZE, t) :: ((f_ALGO,
+    (VI (Zpos (XO XH)))) :: ((f_SCHEME, (VL [])) :: ((f_CRITERIA, (VL
+    [])) :: ((f_NTH, (VL [])) :: ((f_DELIM, vnone) :: ((f_SORT, (VI (Zpos (XO
+    (XO (XO (XI (XO (XI (XI (XI (XI XH)))))))))))) :: ((f_HEIGHT,
+    height_zero) :: ((f_QUERY, (VL [])) :: ((f_FILTER, vnone) :: ((f_HISTORY,
+    vnone) :: ((f_HEADER, (VL [])) :: ((f_LISTEN, vnone) :: ((f_WALKER, (VL
+    (t :: (fv :: (t :: (t :: [])))))) :: ((f_WALKERROOT,
+    (vstrs ((dOT :: []) :: []))) :: ((f_WALKERSKIP,
+    (vstrs (s_dotgit :: (s_node_modules :: [])))) :: ((f_PROMPT,
+    (vstr s_prompt)) :: ((f_GHOST, (VL [])) :: ((f_TABSTOP, (VI (Zpos (XO (XO
+    (XO XH)))))) :: ((f_HSCROLLOFF, (VI (Zpos (XO (XI (XO
+    XH)))))) :: ((f_SCROLLOFF, (VI (Zpos (XI XH)))) :: ((f_MOUSE,
+    t) :: ((f_BOLD, t) :: ((f_HSCROLL, t) :: ((f_MULTILINE, t) :: ((f_CLEAR,
+    t) :: ((f_UNICODE, t) :: ((f_INFOCMD, (VL [])) :: ((f_WITHSHELL, (VL
+    [])) :: ((f_PREVIEW, (VL [])) :: ((f_HMAXLOCAL, (VI (Zpos (XO (XO (XO (XI
+    (XO (XI (XI (XI (XI XH)))))))))))) :: [])))))))))))))))))))))))))))))))))
+    { fv0 = (fun _ -> VI Z0); kmap = []; expect = [] }
+
+(** val s_reload : str **)
+
+let s_reload =
+  (Zpos (XO (XI (XO (XO (XI (XI XH))))))) :: ((Zpos (XI (XO (XI (XO (XO (XI
+    XH))))))) :: ((Zpos (XO (XO (XI (XI (XO (XI XH))))))) :: ((Zpos (XI (XI
+    (XI (XI (XO (XI XH))))))) :: ((Zpos (XI (XO (XO (XO (XO (XI
+    XH))))))) :: ((Zpos (XO (XO (XI (XO (XO (XI XH))))))) :: [])))))
+
+(** val s_reload_sync : str **)
+
+let s_reload_sync =
+  (Zpos (XO (XI (XO (XO (XI (XI XH))))))) :: ((Zpos (XI (XO (XI (XO (XO (XI
+    XH))))))) :: ((Zpos (XO (XO (XI (XI (XO (XI XH))))))) :: ((Zpos (XI (XI
+    (XI (XI (XO (XI XH))))))) :: ((Zpos (XI (XO (XO (XO (XO (XI
+    XH))))))) :: ((Zpos (XO (XO (XI (XO (XO (XI XH))))))) :: ((Zpos (XI (XO
+    (XI (XI (XO XH)))))) :: ((Zpos (XI (XI (XO (XO (XI (XI
+    XH))))))) :: ((Zpos (XI (XO (XO (XI (XI (XI XH))))))) :: ((Zpos (XO (XI
+    (XI (XI (XO (XI XH))))))) :: ((Zpos (XI (XI (XO (XO (XO (XI
+    XH))))))) :: []))))))))))
+
+(** val s_transform : str **)
+
+let s_transform =
+  (Zpos (XO (XO (XI (XO (XI (XI XH))))))) :: ((Zpos (XO (XI (XO (XO (XI (XI
+    XH))))))) :: ((Zpos (XI (XO (XO (XO (XO (XI XH))))))) :: ((Zpos (XO (XI
+    (XI (XI (XO (XI XH))))))) :: ((Zpos (XI (XI (XO (XO (XI (XI
+    XH))))))) :: ((Zpos (XO (XI (XI (XO (XO (XI XH))))))) :: ((Zpos (XI (XI
+    (XI (XI (XO (XI XH))))))) :: ((Zpos (XO (XI (XO (XO (XI (XI
+    XH))))))) :: ((Zpos (XI (XO (XI (XI (XO (XI XH))))))) :: []))))))))
+
+(** val s_start : str **)
+
+let s_start =
+  (Zpos (XI (XI (XO (XO (XI (XI XH))))))) :: ((Zpos (XO (XO (XI (XO (XI (XI
+    XH))))))) :: ((Zpos (XI (XO (XO (XO (XO (XI XH))))))) :: ((Zpos (XO (XI
+    (XO (XO (XI (XI XH))))))) :: ((Zpos (XO (XO (XI (XO (XI (XI
+    XH))))))) :: []))))
+
+(** val reload_on_start : cfg -> bool **)
+
+let reload_on_start c =
+  existsb (fun a ->
+    (||) ((||) (str_eqb (fst a) s_reload) (str_eqb (fst a) s_reload_sync))
+      (str_eqb (fst a) s_transform)) (km_get c.kmap (KNamed s_start))
+
+(** val finalize : env -> cfg -> cfg **)
+
+let finalize e c =
+  match c.fv0 f_SCHEME with
+  | VI _ -> c
+  | VL l ->
+    (match l with
+     | [] ->
+       (match c.fv0 f_CRITERIA with
+        | VI _ -> setf f_SCHEME (vstr s_default) c
+        | VL l0 ->
+          (match l0 with
+           | [] ->
+             let s =
+               if (&&) (negb (reload_on_start c)) e.tty
+               then s_path
+               else s_default
+             in
+             setfs ((f_SCHEME, (vstr s)) :: ((f_CRITERIA,
+               (match scheme_criteria s with
+                | Some l1 -> vints l1
+                | None -> VL [])) :: [])) c
+           | _ :: _ -> setf f_SCHEME (vstr s_default) c))
+     | _ :: _ -> c)
+
+(** val parse_all :
+    env -> str list -> str list -> str list -> cfg outcome res **)
+
+let parse_all e file envw argv =
+  bind
+    (parse_layers e default_cfg
+      (app (filter nonemptyb (file :: (envw :: []))) (argv :: []))) (fun o ->
+    match o with
+    | Good c -> Ok (Good (finalize e c))
+    | Bad x -> Ok (Bad x))
+
+(** val dec_env : val0 -> env **)
+
+let dec_env a =
+  { isdir = (fun s -> mem_str s (as_strs (arg a O))); histok = (fun s ->
+    mem_str s (as_strs (arg a (S O)))); tty = (as_bool (arg a (S (S O)))) }
+
+(** val enc_cfg : cfg -> val0 **)
+
+let enc_cfg c =
+  VL ((VL (map c.fv0 (seq O nOBSERVABLE))) :: ((enc_keymap c.kmap) :: ((VL
+    (map enc_key c.expect)) :: [])))
+
+(** val option_effect : str -> str -> val0 **)
+
+let option_effect name value =
+  match assoc_str name opt_table with
+  | Some o ->
+    (match o with
+     | KFlag ws ->
+       VL (map (fun fvp -> VL ((vnat (fst fvp)) :: ((snd fvp) :: []))) ws)
+     | KReq (fs0, p) ->
+       (match run_parser p value with
+        | Some vals ->
+          VL
+            (map (fun fvp -> VL ((vnat (fst fvp)) :: ((snd fvp) :: [])))
+              (combine fs0 vals))
+        | None -> VL [])
+     | _ -> VL [])
+  | None -> VL []
+
+(** val dispatch_option : z -> val0 -> val0 option **)
+
+let dispatch_option op a =
+  if Z.eqb op (Zpos (XI (XI (XI (XI (XO (XI (XO (XI (XO (XI XH)))))))))))
+  then Some
+         (enc_out enc_cfg
+           (parse_all (dec_env a) (as_strs (arg a (S (S (S O)))))
+             (as_strs (arg a (S (S (S (S O))))))
+             (as_strs (arg a (S (S (S (S (S O)))))))))
+  else if Z.eqb op (Zpos (XO (XO (XO (XO (XI (XI (XO (XI (XO (XI XH)))))))))))
+       then Some (option_effect (as_str (arg a O)) (as_str (arg a (S O))))
+       else if Z.eqb op (Zpos (XI (XO (XO (XO (XI (XI (XO (XI (XO (XI
+                 XH)))))))))))
+            then Some (VL (map vnat (writes (as_str a))))
             else None
 
 (** val c_sq : z **)
@@ -2842,9 +12292,9 @@ type mode =
 
 type lst = { l_mode : mode; l_cur : str; l_acc : str list }
 
-(** val step : lst -> z -> lst option **)
+(** val step0 : lst -> z -> lst option **)
 
-let step s c =
+let step0 s c =
   match s.l_mode with
   | Out ->
     if Z.eqb c c_sp
@@ -2881,7 +12331,7 @@ let step s c =
 
 let rec run s = function
 | [] -> Some s
-| c :: r -> (match step s c with
+| c :: r -> (match step0 s c with
              | Some s' -> run s' r
              | None -> None)
 
@@ -2900,8 +12350,8 @@ let l_init =
 
 (** val sh_words : str -> str list option **)
 
-let sh_words t =
-  match run l_init t with
+let sh_words t0 =
+  match run l_init t0 with
   | Some s -> finish s
   | None -> None
 
@@ -2928,7 +12378,7 @@ let rec feed_words s = function
      (match r with
       | [] -> Some s1
       | _ :: _ ->
-        (match step s1 c_sp with
+        (match step0 s1 c_sp with
          | Some s2 -> feed_words s2 r
          | None -> None))
    | None -> None)
@@ -2939,9 +12389,9 @@ let rec feed_segs s = function
 | [] -> Some s
 | s0 :: r ->
   (match s0 with
-   | SLit t -> (match run s t with
-                | Some s' -> feed_segs s' r
-                | None -> None)
+   | SLit t0 -> (match run s t0 with
+                 | Some s' -> feed_segs s' r
+                 | None -> None)
    | SWords ws ->
      (match feed_words s ws with
       | Some s' -> feed_segs s' r
@@ -3047,17 +12497,17 @@ let rec strip_prefix p s =
      | [] -> None
      | b :: s' -> if Z.eqb a b then strip_prefix p' s' else None)
 
-(** val has_prefix : str -> str -> bool **)
+(** val has_prefix0 : str -> str -> bool **)
 
-let has_prefix p s =
+let has_prefix0 p s =
   match strip_prefix p s with
   | Some _ -> true
   | None -> false
 
-(** val has_suffix : str -> str -> bool **)
+(** val has_suffix0 : str -> str -> bool **)
 
-let has_suffix p s =
-  has_prefix (rev p) (rev s)
+let has_suffix0 p s =
+  has_prefix0 (rev p) (rev s)
 
 (** val trim_suffix : str -> str -> str **)
 
@@ -3070,7 +12520,7 @@ let trim_suffix s p =
 
 let rec span p s = match s with
 | [] -> (O, [])
-| c :: r -> if p c then let (n, t) = span p r in ((S n), t) else (O, s)
+| c :: r -> if p c then let (n, t0) = span p r in ((S n), t0) else (O, s)
 
 (** val join_str : str -> str list -> str **)
 
@@ -3216,11 +12666,11 @@ let s_fzf_prompt =
 (** val m_a3 : str -> nat option **)
 
 let m_a3 s =
-  if has_prefix s_fzf_query s
+  if has_prefix0 s_fzf_query s
   then Some (length s_fzf_query)
-  else if has_prefix s_fzf_action s
+  else if has_prefix0 s_fzf_action s
        then Some (length s_fzf_action)
-       else if has_prefix s_fzf_prompt s
+       else if has_prefix0 s_fzf_prompt s
             then Some (length s_fzf_prompt)
             else None
 
@@ -3344,23 +12794,23 @@ let s_fzf_colon =
 let parse_placeholder m = match m with
 | [] -> Err OutOfRange
 | _ :: r ->
-  if has_prefix s_fzf_colon m
+  if has_prefix0 s_fzf_colon m
   then Ok (no_flags, m)
-  else let (fl, t) = pp_go r no_flags [] in Ok (fl, (c_lb :: t))
+  else let (fl, t0) = pp_go r no_flags [] in Ok (fl, (c_lb :: t0))
 
-(** val is_digit : z -> bool **)
+(** val is_digit0 : z -> bool **)
 
-let is_digit c =
+let is_digit0 c =
   (&&) (Z.leb (Zpos (XO (XO (XO (XO (XI XH)))))) c)
     (Z.leb c (Zpos (XI (XO (XO (XI (XI XH)))))))
 
-(** val digits_val : z -> str -> z option **)
+(** val digits_val0 : z -> str -> z option **)
 
-let rec digits_val acc = function
+let rec digits_val0 acc = function
 | [] -> Some acc
 | c :: r ->
-  if is_digit c
-  then digits_val
+  if is_digit0 c
+  then digits_val0
          (Z.add (Z.mul acc (Zpos (XO (XI (XO XH)))))
            (Z.sub c (Zpos (XO (XO (XO (XO (XI XH)))))))) r
   else None
@@ -3383,15 +12833,15 @@ let int_max =
     (XI (XI (XI (XI (XI (XI (XI (XI (XI
     XH))))))))))))))))))))))))))))))))))))))))))))))))))))))))))))))
 
-(** val atoi : str -> z option **)
+(** val atoi0 : str -> z option **)
 
-let atoi s = match s with
+let atoi0 s = match s with
 | [] ->
   let neg = false in
   (match s with
    | [] -> None
    | _ :: _ ->
-     (match digits_val Z0 s with
+     (match digits_val0 Z0 s with
       | Some v ->
         let v0 = if neg then Z.opp v else v in
         if (&&) (Z.leb int_min v0) (Z.leb v0 int_max) then Some v0 else None
@@ -3402,7 +12852,7 @@ let atoi s = match s with
        (match r with
         | [] -> None
         | _ :: _ ->
-          (match digits_val Z0 r with
+          (match digits_val0 Z0 r with
            | Some v ->
              let v0 = if neg then Z.opp v else v in
              if (&&) (Z.leb int_min v0) (Z.leb v0 int_max)
@@ -3414,7 +12864,7 @@ let atoi s = match s with
             (match r with
              | [] -> None
              | _ :: _ ->
-               (match digits_val Z0 r with
+               (match digits_val0 Z0 r with
                 | Some v ->
                   let v0 = if neg then Z.opp v else v in
                   if (&&) (Z.leb int_min v0) (Z.leb v0 int_max)
@@ -3425,7 +12875,7 @@ let atoi s = match s with
             (match s with
              | [] -> None
              | _ :: _ ->
-               (match digits_val Z0 s with
+               (match digits_val0 Z0 s with
                 | Some v ->
                   let v0 = if neg then Z.opp v else v in
                   if (&&) (Z.leb int_min v0) (Z.leb v0 int_max)
@@ -3484,9 +12934,9 @@ let rec split_dd s cur =
 
 type rng = z * z
 
-(** val new_range : z -> z -> rng **)
+(** val new_range0 : z -> z -> rng **)
 
-let new_range b e =
+let new_range0 b e =
   let b0 =
     if (&&) (Z.eqb b (Zpos XH)) (negb (Z.eqb e (Zpos XH))) then Z0 else b
   in
@@ -3495,22 +12945,22 @@ let new_range b e =
 (** val atoi_nz : str -> z option **)
 
 let atoi_nz s =
-  match atoi s with
+  match atoi0 s with
   | Some v -> if Z.eqb v Z0 then None else Some v
   | None -> None
 
-(** val parse_range : str -> rng option **)
+(** val parse_range0 : str -> rng option **)
 
-let parse_range s =
+let parse_range0 s =
   if str_eqb s s_dd
-  then Some (new_range Z0 Z0)
-  else if has_prefix s_dd s
+  then Some (new_range0 Z0 Z0)
+  else if has_prefix0 s_dd s
        then (match atoi_nz (skipn (S (S O)) s) with
-             | Some e -> Some (new_range Z0 e)
+             | Some e -> Some (new_range0 Z0 e)
              | None -> None)
-       else if has_suffix s_dd s
+       else if has_suffix0 s_dd s
             then (match atoi_nz (firstn (sub (length s) (S (S O))) s) with
-                  | Some b -> Some (new_range b Z0)
+                  | Some b -> Some (new_range0 b Z0)
                   | None -> None)
             else (match split_dd s [] with
                   | [] -> None
@@ -3518,7 +12968,7 @@ let parse_range s =
                     (match l with
                      | [] ->
                        (match atoi_nz s with
-                        | Some n -> Some (new_range n n)
+                        | Some n -> Some (new_range0 n n)
                         | None -> None)
                      | b :: l0 ->
                        (match l0 with
@@ -3529,7 +12979,7 @@ let parse_range s =
                               | Some y ->
                                 if (&&) (Z.ltb x Z0) (Z.ltb Z0 y)
                                 then None
-                                else Some (new_range x y)
+                                else Some (new_range0 x y)
                               | None -> None)
                            | None -> None)
                         | _ :: _ -> None)))
@@ -3549,16 +12999,16 @@ let rec split_comma s cur =
 let rec parse_ranges = function
 | [] -> Some []
 | e :: r ->
-  (match parse_range e with
+  (match parse_range0 e with
    | Some x ->
      (match parse_ranges r with
       | Some xs -> Some (x :: xs)
       | None -> None)
    | None -> None)
 
-(** val split_nth : str -> rng list option **)
+(** val split_nth0 : str -> rng list option **)
 
-let split_nth s = match s with
+let split_nth0 s = match s with
 | [] -> None
 | _ :: _ ->
   if forallb in_range s then parse_ranges (split_comma s []) else None
@@ -3629,8 +13079,8 @@ let tokenize delim s =
 let rec sel_go ts i lo hi =
   match ts with
   | [] -> []
-  | t :: r ->
-    app (if (&&) (Z.leb lo i) (Z.leb i hi) then t else [])
+  | t0 :: r ->
+    app (if (&&) (Z.leb lo i) (Z.leb i hi) then t0 else [])
       (sel_go r (Z.add i (Zpos XH)) lo hi)
 
 (** val sel : str list -> z -> z -> str **)
@@ -3828,15 +13278,15 @@ type outp =
 | OText of str
 | OWords of (str * str) list
 
-(** val render : outp -> str **)
+(** val render0 : outp -> str **)
 
-let render = function
+let render0 = function
 | OText s -> s
 | OWords l -> join_sp (map fst l)
 
-(** val s_q : str **)
+(** val s_q0 : str **)
 
-let s_q =
+let s_q0 =
   (Zpos (XI (XI (XO (XI (XI (XI XH))))))) :: ((Zpos (XI (XO (XO (XO (XI (XI
     XH))))))) :: ((Zpos (XI (XO (XI (XI (XI (XI XH))))))) :: []))
 
@@ -3937,11 +13387,11 @@ let over_items p fl raw f temps =
 let expand_ph p m temps =
   bind (parse_placeholder m) (fun fm ->
     let (fl, mm) = fm in
-    if (||) (str_eqb mm s_q) (str_eqb mm s_m_query)
+    if (||) (str_eqb mm s_q0) (str_eqb mm s_m_query)
     then Ok (((OWords ((quoted p p.p_query) :: [])), []), temps)
-    else if has_prefix s_q_colon mm
+    else if has_prefix0 s_q_colon mm
          then bind (mid (S (S (S O))) mm) (fun body ->
-                match split_nth body with
+                match split_nth0 body with
                 | Some rs ->
                   let s = transform_join (awk_tokens p.p_query) rs in
                   Ok (((OWords
@@ -3972,8 +13422,8 @@ let rec expand_all p ps temps =
   | [] -> Ok ([], [])
   | p0 :: r ->
     (match p0 with
-     | PLit t ->
-       bind (expand_all p r temps) (fun x -> Ok (((OText t) :: (fst x)),
+     | PLit t0 ->
+       bind (expand_all p r temps) (fun x -> Ok (((OText t0) :: (fst x)),
          (snd x)))
      | PEsc m ->
        bind (expand_all p r temps) (fun x -> Ok (((OText m) :: (fst x)),
@@ -3996,7 +13446,7 @@ let replace_structured p template temps =
 
 let replace_placeholder p template temps =
   bind (replace_structured p template temps) (fun x -> Ok
-    ((concat (map render (fst x))), (snd x)))
+    ((concat (map render0 (fst x))), (snd x)))
 
 (** val vopt_words : str list option -> val0 **)
 
@@ -4046,7 +13496,7 @@ let v_outp = function
 (** val v_piece : piece -> val0 **)
 
 let v_piece = function
-| PLit t -> VL ((VI Z0) :: ((vstr t) :: []))
+| PLit t0 -> VL ((VI Z0) :: ((vstr t0) :: []))
 | PEsc m -> VL ((VI (Zpos XH)) :: ((vstr m) :: []))
 | PPh m -> VL ((VI (Zpos (XO XH))) :: ((vstr m) :: []))
 
@@ -4117,7 +13567,7 @@ let non_blank c =
 
 let rec span0 p l = match l with
 | [] -> ([], [])
-| x :: t -> if p x then let (a, b) = span0 p t in ((x :: a), b) else ([], l)
+| x :: t0 -> if p x then let (a, b) = span0 p t0 in ((x :: a), b) else ([], l)
 
 (** val awk_fields_from : nat -> str -> str list **)
 
@@ -4155,21 +13605,22 @@ let rec is_prefix p s =
 
 let rec split_after_go sep skip cur s = match s with
 | [] -> (rev cur) :: []
-| c :: t ->
+| c :: t0 ->
   (match skip with
    | O ->
      if is_prefix sep s
      then (match length sep with
-           | O -> split_after_go sep (sub O (S O)) (c :: cur) t
+           | O -> split_after_go sep (sub O (S O)) (c :: cur) t0
            | S n0 ->
              (match n0 with
-              | O -> (rev (c :: cur)) :: (split_after_go sep O [] t)
-              | S n1 -> split_after_go sep (sub (S (S n1)) (S O)) (c :: cur) t))
-     else split_after_go sep O (c :: cur) t
+              | O -> (rev (c :: cur)) :: (split_after_go sep O [] t0)
+              | S n1 ->
+                split_after_go sep (sub (S (S n1)) (S O)) (c :: cur) t0))
+     else split_after_go sep O (c :: cur) t0
    | S k ->
      (match k with
-      | O -> (rev (c :: cur)) :: (split_after_go sep O [] t)
-      | S _ -> split_after_go sep k (c :: cur) t))
+      | O -> (rev (c :: cur)) :: (split_after_go sep O [] t0)
+      | S _ -> split_after_go sep k (c :: cur) t0))
 
 (** val split_after0 : str -> str -> str list **)
 
@@ -4230,9 +13681,9 @@ type fexpr =
 | FIdx of z
 | FRange of z option * z option
 
-(** val resolve : z -> z -> z **)
+(** val resolve0 : z -> z -> z **)
 
-let resolve n i =
+let resolve0 n i =
   if Z.ltb i Z0 then Z.add (Z.add i n) (Zpos XH) else i
 
 (** val sel_bounds : fexpr -> z -> z * z **)
@@ -4240,14 +13691,14 @@ let resolve n i =
 let sel_bounds e n =
   match e with
   | FIdx i ->
-    let k = resolve n i in
+    let k = resolve0 n i in
     if (&&) (Z.leb (Zpos XH) k) (Z.leb k n) then (k, k) else ((Zpos XH), Z0)
   | FRange (a, b) ->
     ((Z.max (Zpos XH) (match a with
-                       | Some x -> resolve n x
+                       | Some x -> resolve0 n x
                        | None -> Zpos XH)),
       (Z.min n (match b with
-                | Some y -> resolve n y
+                | Some y -> resolve0 n y
                 | None -> n)))
 
 (** val select_fields : fexpr -> 'a1 list -> 'a1 list **)
@@ -4296,9 +13747,9 @@ let itoa0 z0 =
   then (Zpos (XI (XO (XI (XI (XO XH)))))) :: (digits (Z.opp z0))
   else digits z0
 
-(** val dOT : z **)
+(** val dOT0 : z **)
 
-let dOT =
+let dOT0 =
   Zpos (XO (XI (XI (XI (XO XH)))))
 
 (** val print_fexpr : fexpr -> str **)
@@ -4309,9 +13760,9 @@ let print_fexpr = function
   app (match a with
        | Some x -> itoa0 x
        | None -> [])
-    (app (dOT :: (dOT :: [])) (match b with
-                               | Some y -> itoa0 y
-                               | None -> []))
+    (app (dOT0 :: (dOT0 :: [])) (match b with
+                                 | Some y -> itoa0 y
+                                 | None -> []))
 
 (** val is_space0 : z -> bool **)
 
@@ -4386,9 +13837,10 @@ let slice s b e =
 let rec with_prefix_lengths tokens begin0 =
   match tokens with
   | [] -> []
-  | t :: r ->
-    { t_text = t; t_prefix =
-      begin0 } :: (with_prefix_lengths r (Z.add begin0 (Z.of_nat (length t))))
+  | t0 :: r ->
+    { t_text = t0; t_prefix =
+      begin0 } :: (with_prefix_lengths r
+                    (Z.add begin0 (Z.of_nat (length t0))))
 
 type awk_state0 =
 | AwkNil0
@@ -4402,19 +13854,19 @@ let rec awk_loop st cur ret pl = function
 | [] -> ((rev (match st with
                | AwkNil0 -> ret
                | _ -> (rev cur) :: ret)), pl)
-| r :: t ->
+| r :: t0 ->
   let white = is_blank r in
   (match st with
    | AwkNil0 ->
      if white
-     then awk_loop AwkNil0 cur ret (Z.add pl (Zpos XH)) t
-     else awk_loop AwkBlack0 (r :: []) ret pl t
+     then awk_loop AwkNil0 cur ret (Z.add pl (Zpos XH)) t0
+     else awk_loop AwkBlack0 (r :: []) ret pl t0
    | AwkBlack0 ->
-     awk_loop (if white then AwkWhite0 else AwkBlack0) (r :: cur) ret pl t
+     awk_loop (if white then AwkWhite0 else AwkBlack0) (r :: cur) ret pl t0
    | AwkWhite0 ->
      if white
-     then awk_loop AwkWhite0 (r :: cur) ret pl t
-     else awk_loop AwkBlack0 (r :: []) ((rev cur) :: ret) pl t)
+     then awk_loop AwkWhite0 (r :: cur) ret pl t0
+     else awk_loop AwkBlack0 (r :: []) ((rev cur) :: ret) pl t0)
 
 (** val awk_tokenizer : str -> str list * z **)
 
@@ -4426,12 +13878,12 @@ let awk_tokenizer input =
 let rec regex_tokens text begin0 = function
 | [] ->
   if Nat.ltb begin0 (length text)
-  then bind (slice text begin0 (length text)) (fun t -> Ok (t :: []))
+  then bind (slice text begin0 (length text)) (fun t0 -> Ok (t0 :: []))
   else Ok []
 | p :: r ->
   let (_, e) = p in
-  bind (slice text begin0 e) (fun t ->
-    bind (regex_tokens text e r) (fun rest -> Ok (t :: rest)))
+  bind (slice text begin0 e) (fun t0 ->
+    bind (regex_tokens text e r) (fun rest -> Ok (t0 :: rest)))
 
 (** val tokenize0 : str -> delimiter -> token list res **)
 
@@ -4443,28 +13895,28 @@ let tokenize0 text = function
   bind (regex_tokens text O (rx text)) (fun tokens -> Ok
     (with_prefix_lengths tokens Z0))
 
-(** val has_prefix0 : str -> str -> bool **)
+(** val has_prefix1 : str -> str -> bool **)
 
-let has_prefix0 =
+let has_prefix1 =
   is_prefix
 
-(** val has_suffix0 : str -> str -> bool **)
+(** val has_suffix1 : str -> str -> bool **)
 
-let has_suffix0 p s =
+let has_suffix1 p s =
   is_prefix (rev p) (rev s)
 
-(** val contains : str -> str -> bool **)
+(** val contains0 : str -> str -> bool **)
 
-let rec contains sub0 s =
+let rec contains0 sub0 s =
   (||) (is_prefix sub0 s)
     (match s with
      | [] -> false
-     | _ :: t -> contains sub0 t)
+     | _ :: t0 -> contains0 sub0 t0)
 
 (** val trim_suffix0 : str -> str -> str **)
 
 let trim_suffix0 s suffix =
-  if has_suffix0 suffix s
+  if has_suffix1 suffix s
   then firstn (sub (length s) (length suffix)) s
   else s
 
@@ -4472,22 +13924,22 @@ let trim_suffix0 s suffix =
 
 let rec split_go sep skip cur s = match s with
 | [] -> (rev cur) :: []
-| c :: t ->
+| c :: t0 ->
   (match skip with
    | O ->
      if is_prefix sep s
-     then (rev cur) :: (split_go sep (sub (length sep) (S O)) [] t)
-     else split_go sep O (c :: cur) t
-   | S k -> split_go sep k cur t)
+     then (rev cur) :: (split_go sep (sub (length sep) (S O)) [] t0)
+     else split_go sep O (c :: cur) t0
+   | S k -> split_go sep k cur t0)
 
 (** val split : str -> str -> str list **)
 
 let split sep s =
   split_go sep O [] s
 
-(** val is_digit0 : z -> bool **)
+(** val is_digit1 : z -> bool **)
 
-let is_digit0 c =
+let is_digit1 c =
   (&&) (Z.leb (Zpos (XO (XO (XO (XO (XI XH)))))) c)
     (Z.leb c (Zpos (XI (XO (XO (XI (XI XH)))))))
 
@@ -4516,15 +13968,15 @@ let iNT_MAX =
     (XI (XI (XI (XI (XI (XI (XI (XI (XI
     XH))))))))))))))))))))))))))))))))))))))))))))))))))))))))))))))
 
-(** val atoi0 : str -> z option **)
+(** val atoi1 : str -> z option **)
 
-let atoi0 s = match s with
+let atoi1 s = match s with
 | [] ->
   let neg = false in
   (match s with
    | [] -> None
    | _ :: _ ->
-     if forallb is_digit0 s
+     if forallb is_digit1 s
      then let v = if neg then Z.opp (digits_value s) else digits_value s in
           if (&&) (Z.leb iNT_MIN v) (Z.leb v iNT_MAX) then Some v else None
      else None)
@@ -4534,7 +13986,7 @@ let atoi0 s = match s with
        (match r with
         | [] -> None
         | _ :: _ ->
-          if forallb is_digit0 r
+          if forallb is_digit1 r
           then let v = if neg then Z.opp (digits_value r) else digits_value r
                in
                if (&&) (Z.leb iNT_MIN v) (Z.leb v iNT_MAX)
@@ -4546,7 +13998,7 @@ let atoi0 s = match s with
             (match r with
              | [] -> None
              | _ :: _ ->
-               if forallb is_digit0 r
+               if forallb is_digit1 r
                then let v =
                       if neg then Z.opp (digits_value r) else digits_value r
                     in
@@ -4558,7 +14010,7 @@ let atoi0 s = match s with
             (match s with
              | [] -> None
              | _ :: _ ->
-               if forallb is_digit0 s
+               if forallb is_digit1 s
                then let v =
                       if neg then Z.opp (digits_value s) else digits_value s
                     in
@@ -4569,9 +14021,9 @@ let atoi0 s = match s with
 
 type range = z * z
 
-(** val new_range0 : z -> z -> range **)
+(** val new_range1 : z -> z -> range **)
 
-let new_range0 b e =
+let new_range1 b e =
   let b0 =
     if (&&) (Z.eqb b (Zpos XH)) (negb (Z.eqb e (Zpos XH))) then Z0 else b
   in
@@ -4583,21 +14035,21 @@ let dD =
   (Zpos (XO (XI (XI (XI (XO XH)))))) :: ((Zpos (XO (XI (XI (XI (XO
     XH)))))) :: [])
 
-(** val parse_range0 : str -> range option **)
+(** val parse_range1 : str -> range option **)
 
-let parse_range0 s =
+let parse_range1 s =
   if str_eqb s dD
-  then Some (new_range0 Z0 Z0)
-  else if has_prefix0 dD s
-       then (match atoi0 (skipn (S (S O)) s) with
-             | Some e -> if Z.eqb e Z0 then None else Some (new_range0 Z0 e)
+  then Some (new_range1 Z0 Z0)
+  else if has_prefix1 dD s
+       then (match atoi1 (skipn (S (S O)) s) with
+             | Some e -> if Z.eqb e Z0 then None else Some (new_range1 Z0 e)
              | None -> None)
-       else if has_suffix0 dD s
-            then (match atoi0 (firstn (sub (length s) (S (S O))) s) with
+       else if has_suffix1 dD s
+            then (match atoi1 (firstn (sub (length s) (S (S O))) s) with
                   | Some b ->
-                    if Z.eqb b Z0 then None else Some (new_range0 b Z0)
+                    if Z.eqb b Z0 then None else Some (new_range1 b Z0)
                   | None -> None)
-            else if contains dD s
+            else if contains0 dD s
                  then (match split dD s with
                        | [] -> None
                        | n0 :: l ->
@@ -4606,20 +14058,20 @@ let parse_range0 s =
                           | n1 :: l0 ->
                             (match l0 with
                              | [] ->
-                               (match atoi0 n0 with
+                               (match atoi1 n0 with
                                 | Some b ->
-                                  (match atoi0 n1 with
+                                  (match atoi1 n1 with
                                    | Some e ->
                                      if (||) ((||) (Z.eqb b Z0) (Z.eqb e Z0))
                                           ((&&) (Z.ltb b Z0) (Z.ltb Z0 e))
                                      then None
-                                     else Some (new_range0 b e)
+                                     else Some (new_range1 b e)
                                    | None -> None)
                                 | None -> None)
                              | _ :: _ -> None)))
-                 else (match atoi0 s with
+                 else (match atoi1 s with
                        | Some n ->
-                         if Z.eqb n Z0 then None else Some (new_range0 n n)
+                         if Z.eqb n Z0 then None else Some (new_range1 n n)
                        | None -> None)
 
 (** val range_to_string : range -> str **)
@@ -4643,7 +14095,7 @@ let ranges_to_string rs =
 (** val join_tokens : token list -> str **)
 
 let join_tokens tokens =
-  concat (map (fun t -> t.t_text) tokens)
+  concat (map (fun t0 -> t0.t_text) tokens)
 
 (** val adj : z -> z -> z **)
 
@@ -4658,9 +14110,9 @@ let rec collect tokens n fuel idx e =
   | S k ->
     if Z.leb idx e
     then if (&&) (Z.leb (Zpos XH) idx) (Z.leb idx n)
-         then bind (get tokens (Z.to_nat (Z.sub idx (Zpos XH)))) (fun t ->
+         then bind (get tokens (Z.to_nat (Z.sub idx (Zpos XH)))) (fun t0 ->
                 bind (collect tokens n k (Z.add idx (Zpos XH)) e) (fun r ->
-                  Ok (t.t_text :: r)))
+                  Ok (t0.t_text :: r)))
          else collect tokens n k (Z.add idx (Zpos XH)) e
     else Ok []
 
@@ -4676,7 +14128,8 @@ let transform_one tokens r =
           else let idx = adj n rb in
                if (&&) (Z.leb (Zpos XH) idx) (Z.leb idx n)
                then bind (get tokens (Z.to_nat (Z.sub idx (Zpos XH))))
-                      (fun t -> Ok ((t.t_text :: []), (Z.sub idx (Zpos XH))))
+                      (fun t0 -> Ok ((t0.t_text :: []),
+                      (Z.sub idx (Zpos XH))))
                else Ok ([], Z0)
      else if Z.eqb rb Z0
           then let b = Zpos XH in
@@ -4703,7 +14156,7 @@ let transform_one tokens r =
     let merged = concat parts in
     bind
       (if Z.ltb min_idx n
-       then bind (get tokens (Z.to_nat min_idx)) (fun t -> Ok t.t_prefix)
+       then bind (get tokens (Z.to_nat min_idx)) (fun t0 -> Ok t0.t_prefix)
        else Ok Z0) (fun pl -> Ok { t_text = merged; t_prefix = pl }))
 
 (** val transform : token list -> range list -> token list res **)
@@ -4711,8 +14164,8 @@ let transform_one tokens r =
 let rec transform tokens = function
 | [] -> Ok []
 | r :: rest ->
-  bind (transform_one tokens r) (fun t ->
-    bind (transform tokens rest) (fun ts -> Ok (t :: ts)))
+  bind (transform_one tokens r) (fun t0 ->
+    bind (transform tokens rest) (fun ts -> Ok (t0 :: ts)))
 
 (** val strip_last_delimiter : str -> delimiter -> str res **)
 
@@ -4744,9 +14197,9 @@ let transform_input line nth0 d =
     bind (transform tokens nth0) (fun ret ->
       if is_awk d
       then Ok ret
-      else map_last (fun t ->
-             bind (strip_last_delimiter t.t_text d) (fun s -> Ok { t_text =
-               s; t_prefix = t.t_prefix })) ret))
+      else map_last (fun t0 ->
+             bind (strip_last_delimiter t0.t_text d) (fun s -> Ok { t_text =
+               s; t_prefix = t0.t_prefix })) ret))
 
 type match_fn = str -> ((nat * nat) * nat list) option
 
@@ -4787,8 +14240,8 @@ let accept_nth line nth0 d =
 
 (** val vtok : token -> val0 **)
 
-let vtok t =
-  VL ((vstr t.t_text) :: ((VI t.t_prefix) :: []))
+let vtok t0 =
+  VL ((vstr t0.t_text) :: ((VI t0.t_prefix) :: []))
 
 (** val vtoks : token list -> val0 **)
 
@@ -4906,7 +14359,7 @@ let dispatch_token op a =
          (vres vtoks (tokenize0 (as_str (arg a O)) (as_delim (arg a (S O)))))
   else if Z.eqb op (Zpos (XO (XI (XO (XI (XO (XI (XI (XI (XI XH))))))))))
        then Some
-              (match parse_range0 (as_str a) with
+              (match parse_range1 (as_str a) with
                | Some r ->
                  VL ((VL
                    ((vstr (itoa0 (fst r))) :: ((vstr (itoa0 (snd r))) :: []))) :: [])
@@ -5111,11 +14564,18 @@ let dispatch op a =
   match dispatch_algo op a with
   | Some v -> v
   | None ->
-    (match dispatch_history op a with
+    (match dispatch_bind op a with
      | Some v -> v
      | None ->
-       (match dispatch_placeholder op a with
+       (match dispatch_history op a with
         | Some v -> v
-        | None -> (match dispatch_token op a with
-                   | Some v -> v
-                   | None -> verr)))
+        | None ->
+          (match dispatch_option op a with
+           | Some v -> v
+           | None ->
+             (match dispatch_placeholder op a with
+              | Some v -> v
+              | None ->
+                (match dispatch_token op a with
+                 | Some v -> v
+                 | None -> verr)))))
